@@ -62,13 +62,17 @@ let rec sub n0 m =
             | O -> n0
             | S l -> sub k l)
 
-(** val eqb : bool -> bool -> bool **)
-
-let eqb b1 b2 =
-  if b1 then b2 else if b2 then false else true
-
 module Nat =
  struct
+  (** val sub : nat -> nat -> nat **)
+
+  let rec sub n0 m =
+    match n0 with
+    | O -> n0
+    | S k -> (match m with
+              | O -> n0
+              | S l -> sub k l)
+
   (** val eqb : nat -> nat -> bool **)
 
   let rec eqb n0 m =
@@ -93,7 +97,95 @@ module Nat =
 
   let ltb n0 m =
     leb (S n0) m
+
+  (** val divmod : nat -> nat -> nat -> nat -> nat * nat **)
+
+  let rec divmod x y q u =
+    match x with
+    | O -> (q, u)
+    | S x' ->
+      (match u with
+       | O -> divmod x' y (S q) y
+       | S u' -> divmod x' y q u')
+
+  (** val modulo : nat -> nat -> nat **)
+
+  let modulo x = function
+  | O -> x
+  | S y' -> sub y' (snd (divmod x y' O y'))
  end
+
+(** val nth_error : 'a1 list -> nat -> 'a1 option **)
+
+let rec nth_error l = function
+| O -> (match l with
+        | [] -> None
+        | x :: _ -> Some x)
+| S n1 -> (match l with
+           | [] -> None
+           | _ :: l0 -> nth_error l0 n1)
+
+(** val removelast : 'a1 list -> 'a1 list **)
+
+let rec removelast = function
+| [] -> []
+| a :: l0 -> (match l0 with
+              | [] -> []
+              | _ :: _ -> a :: (removelast l0))
+
+(** val rev : 'a1 list -> 'a1 list **)
+
+let rec rev = function
+| [] -> []
+| x :: l' -> app (rev l') (x :: [])
+
+(** val concat : 'a1 list list -> 'a1 list **)
+
+let rec concat = function
+| [] -> []
+| x :: l0 -> app x (concat l0)
+
+(** val map : ('a1 -> 'a2) -> 'a1 list -> 'a2 list **)
+
+let rec map f = function
+| [] -> []
+| a :: t -> (f a) :: (map f t)
+
+(** val flat_map : ('a1 -> 'a2 list) -> 'a1 list -> 'a2 list **)
+
+let rec flat_map f = function
+| [] -> []
+| x :: t -> app (f x) (flat_map f t)
+
+(** val forallb : ('a1 -> bool) -> 'a1 list -> bool **)
+
+let rec forallb f = function
+| [] -> true
+| a :: l0 -> (&&) (f a) (forallb f l0)
+
+(** val firstn : nat -> 'a1 list -> 'a1 list **)
+
+let rec firstn n0 l =
+  match n0 with
+  | O -> []
+  | S n1 -> (match l with
+             | [] -> []
+             | a :: l0 -> a :: (firstn n1 l0))
+
+(** val skipn : nat -> 'a1 list -> 'a1 list **)
+
+let rec skipn n0 l =
+  match n0 with
+  | O -> l
+  | S n1 -> (match l with
+             | [] -> []
+             | _ :: l0 -> skipn n1 l0)
+
+(** val repeat : 'a1 -> nat -> 'a1 list **)
+
+let rec repeat x = function
+| O -> []
+| S k -> x :: (repeat x k)
 
 type positive =
 | XI of positive
@@ -433,60 +525,6 @@ module N =
   | Npos p -> Coq_Pos.to_nat p
  end
 
-(** val rev : 'a1 list -> 'a1 list **)
-
-let rec rev = function
-| [] -> []
-| x :: l' -> app (rev l') (x :: [])
-
-(** val concat : 'a1 list list -> 'a1 list **)
-
-let rec concat = function
-| [] -> []
-| x :: l0 -> app x (concat l0)
-
-(** val map : ('a1 -> 'a2) -> 'a1 list -> 'a2 list **)
-
-let rec map f = function
-| [] -> []
-| a :: t -> (f a) :: (map f t)
-
-(** val flat_map : ('a1 -> 'a2 list) -> 'a1 list -> 'a2 list **)
-
-let rec flat_map f = function
-| [] -> []
-| x :: t -> app (f x) (flat_map f t)
-
-(** val forallb : ('a1 -> bool) -> 'a1 list -> bool **)
-
-let rec forallb f = function
-| [] -> true
-| a :: l0 -> (&&) (f a) (forallb f l0)
-
-(** val firstn : nat -> 'a1 list -> 'a1 list **)
-
-let rec firstn n0 l =
-  match n0 with
-  | O -> []
-  | S n1 -> (match l with
-             | [] -> []
-             | a :: l0 -> a :: (firstn n1 l0))
-
-(** val skipn : nat -> 'a1 list -> 'a1 list **)
-
-let rec skipn n0 l =
-  match n0 with
-  | O -> l
-  | S n1 -> (match l with
-             | [] -> []
-             | _ :: l0 -> skipn n1 l0)
-
-(** val repeat : 'a1 -> nat -> 'a1 list **)
-
-let rec repeat x = function
-| O -> []
-| S k -> x :: (repeat x k)
-
 module Z =
  struct
   (** val double : z -> z **)
@@ -592,65 +630,12 @@ module Z =
     | Gt -> false
     | _ -> true
 
-  (** val eqb : z -> z -> bool **)
-
-  let eqb x y =
-    match x with
-    | Z0 -> (match y with
-             | Z0 -> true
-             | _ -> false)
-    | Zpos p -> (match y with
-                 | Zpos q -> Coq_Pos.eqb p q
-                 | _ -> false)
-    | Zneg p -> (match y with
-                 | Zneg q -> Coq_Pos.eqb p q
-                 | _ -> false)
-
   (** val of_N : n -> z **)
 
   let of_N = function
   | N0 -> Z0
   | Npos p -> Zpos p
  end
-
-type ascii =
-| Ascii of bool * bool * bool * bool * bool * bool * bool * bool
-
-(** val eqb0 : ascii -> ascii -> bool **)
-
-let eqb0 a b =
-  let Ascii (a0, a1, a2, a3, a4, a5, a6, a7) = a in
-  let Ascii (b0, b1, b2, b3, b4, b5, b6, b7) = b in
-  if if if if if if if eqb a0 b0 then eqb a1 b1 else false
-                 then eqb a2 b2
-                 else false
-              then eqb a3 b3
-              else false
-           then eqb a4 b4
-           else false
-        then eqb a5 b5
-        else false
-     then eqb a6 b6
-     else false
-  then eqb a7 b7
-  else false
-
-type string =
-| EmptyString
-| String of ascii * string
-
-(** val eqb1 : string -> string -> bool **)
-
-let rec eqb1 s1 s2 =
-  match s1 with
-  | EmptyString ->
-    (match s2 with
-     | EmptyString -> true
-     | String (_, _) -> false)
-  | String (c1, s1') ->
-    (match s2 with
-     | EmptyString -> false
-     | String (c2, s2') -> if eqb0 c1 c2 then eqb1 s1' s2' else false)
 
 type bytes = n list
 
@@ -900,67 +885,6 @@ let encode_rune r =
 
 let encode rs =
   flat_map encode_rune rs
-
-type seg =
-| SLit of bytes
-| SAlpha of string * nat
-| SNum of string * nat
-| SStr of string * nat
-| SRaw of string
-| SItoa of string
-| SCustom of string * string
-| SUnknown of string
-
-type cut = { c_lo : nat; c_hi : nat; c_field : string; c_conv : string list;
-             c_const : bytes option }
-
-(** val mkcut : nat -> nat -> string -> string list -> cut **)
-
-let mkcut lo hi f conv =
-  { c_lo = lo; c_hi = hi; c_field = f; c_conv = conv; c_const = None }
-
-(** val mkconst : string -> bytes -> cut **)
-
-let mkconst f bs =
-  { c_lo = O; c_hi = O; c_field = f; c_conv = []; c_const = (Some bs) }
-
-type indexing =
-| IRune
-| IByte
-
-type layout = { l_name : string; l_ix : indexing; l_segs : seg list;
-                l_cuts : cut list }
-
-type value =
-| VS of bytes
-| VI of z
-
-type recval = (string * value) list
-
-(** val lookup : recval -> string -> value option **)
-
-let rec lookup r f =
-  match r with
-  | [] -> None
-  | p :: r' -> let (g, v) = p in if eqb1 f g then Some v else lookup r' f
-
-(** val gets : recval -> string -> bytes **)
-
-let gets r f =
-  match lookup r f with
-  | Some v -> (match v with
-               | VS s -> s
-               | VI _ -> [])
-  | None -> []
-
-(** val geti : recval -> string -> z **)
-
-let geti r f =
-  match lookup r f with
-  | Some v -> (match v with
-               | VS _ -> Z0
-               | VI z0 -> z0)
-  | None -> Z0
 
 (** val spaces : nat -> bytes **)
 
@@ -1303,30193 +1227,549 @@ let atoi s = match s with
                 else if Z.leb v max_int64 then v else max_int64
            else Z0)))
 
-(** val atoi_opt : bytes -> z option **)
-
-let atoi_opt s = match s with
-| [] ->
-  let neg = false in
-  (match s with
-   | [] -> None
-   | _ :: _ ->
-     if forallb is_digit s
-     then let v = digits_val s Z0 in
-          if neg
-          then if Z.leb min_int64 (Z.opp v) then Some (Z.opp v) else None
-          else if Z.leb v max_int64 then Some v else None
-     else None)
-| n0 :: t ->
-  (match n0 with
-   | N0 ->
-     let neg = false in
-     (match s with
-      | [] -> None
-      | _ :: _ ->
-        if forallb is_digit s
-        then let v = digits_val s Z0 in
-             if neg
-             then if Z.leb min_int64 (Z.opp v) then Some (Z.opp v) else None
-             else if Z.leb v max_int64 then Some v else None
-        else None)
-   | Npos p ->
-     (match p with
-      | XI p0 ->
-        (match p0 with
-         | XI p1 ->
-           (match p1 with
-            | XO p2 ->
-              (match p2 with
-               | XI p3 ->
-                 (match p3 with
-                  | XO p4 ->
-                    (match p4 with
-                     | XH ->
-                       let neg = false in
-                       (match t with
-                        | [] -> None
-                        | _ :: _ ->
-                          if forallb is_digit t
-                          then let v = digits_val t Z0 in
-                               if neg
-                               then if Z.leb min_int64 (Z.opp v)
-                                    then Some (Z.opp v)
-                                    else None
-                               else if Z.leb v max_int64 then Some v else None
-                          else None)
-                     | _ ->
-                       let neg = false in
-                       (match s with
-                        | [] -> None
-                        | _ :: _ ->
-                          if forallb is_digit s
-                          then let v = digits_val s Z0 in
-                               if neg
-                               then if Z.leb min_int64 (Z.opp v)
-                                    then Some (Z.opp v)
-                                    else None
-                               else if Z.leb v max_int64 then Some v else None
-                          else None))
-                  | _ ->
-                    let neg = false in
-                    (match s with
-                     | [] -> None
-                     | _ :: _ ->
-                       if forallb is_digit s
-                       then let v = digits_val s Z0 in
-                            if neg
-                            then if Z.leb min_int64 (Z.opp v)
-                                 then Some (Z.opp v)
-                                 else None
-                            else if Z.leb v max_int64 then Some v else None
-                       else None))
-               | _ ->
-                 let neg = false in
-                 (match s with
-                  | [] -> None
-                  | _ :: _ ->
-                    if forallb is_digit s
-                    then let v = digits_val s Z0 in
-                         if neg
-                         then if Z.leb min_int64 (Z.opp v)
-                              then Some (Z.opp v)
-                              else None
-                         else if Z.leb v max_int64 then Some v else None
-                    else None))
-            | _ ->
-              let neg = false in
-              (match s with
-               | [] -> None
-               | _ :: _ ->
-                 if forallb is_digit s
-                 then let v = digits_val s Z0 in
-                      if neg
-                      then if Z.leb min_int64 (Z.opp v)
-                           then Some (Z.opp v)
-                           else None
-                      else if Z.leb v max_int64 then Some v else None
-                 else None))
-         | XO p1 ->
-           (match p1 with
-            | XI p2 ->
-              (match p2 with
-               | XI p3 ->
-                 (match p3 with
-                  | XO p4 ->
-                    (match p4 with
-                     | XH ->
-                       let neg = true in
-                       (match t with
-                        | [] -> None
-                        | _ :: _ ->
-                          if forallb is_digit t
-                          then let v = digits_val t Z0 in
-                               if neg
-                               then if Z.leb min_int64 (Z.opp v)
-                                    then Some (Z.opp v)
-                                    else None
-                               else if Z.leb v max_int64 then Some v else None
-                          else None)
-                     | _ ->
-                       let neg = false in
-                       (match s with
-                        | [] -> None
-                        | _ :: _ ->
-                          if forallb is_digit s
-                          then let v = digits_val s Z0 in
-                               if neg
-                               then if Z.leb min_int64 (Z.opp v)
-                                    then Some (Z.opp v)
-                                    else None
-                               else if Z.leb v max_int64 then Some v else None
-                          else None))
-                  | _ ->
-                    let neg = false in
-                    (match s with
-                     | [] -> None
-                     | _ :: _ ->
-                       if forallb is_digit s
-                       then let v = digits_val s Z0 in
-                            if neg
-                            then if Z.leb min_int64 (Z.opp v)
-                                 then Some (Z.opp v)
-                                 else None
-                            else if Z.leb v max_int64 then Some v else None
-                       else None))
-               | _ ->
-                 let neg = false in
-                 (match s with
-                  | [] -> None
-                  | _ :: _ ->
-                    if forallb is_digit s
-                    then let v = digits_val s Z0 in
-                         if neg
-                         then if Z.leb min_int64 (Z.opp v)
-                              then Some (Z.opp v)
-                              else None
-                         else if Z.leb v max_int64 then Some v else None
-                    else None))
-            | _ ->
-              let neg = false in
-              (match s with
-               | [] -> None
-               | _ :: _ ->
-                 if forallb is_digit s
-                 then let v = digits_val s Z0 in
-                      if neg
-                      then if Z.leb min_int64 (Z.opp v)
-                           then Some (Z.opp v)
-                           else None
-                      else if Z.leb v max_int64 then Some v else None
-                 else None))
-         | XH ->
-           let neg = false in
-           (match s with
-            | [] -> None
-            | _ :: _ ->
-              if forallb is_digit s
-              then let v = digits_val s Z0 in
-                   if neg
-                   then if Z.leb min_int64 (Z.opp v)
-                        then Some (Z.opp v)
-                        else None
-                   else if Z.leb v max_int64 then Some v else None
-              else None))
-      | _ ->
-        let neg = false in
-        (match s with
-         | [] -> None
-         | _ :: _ ->
-           if forallb is_digit s
-           then let v = digits_val s Z0 in
-                if neg
-                then if Z.leb min_int64 (Z.opp v)
-                     then Some (Z.opp v)
-                     else None
-                else if Z.leb v max_int64 then Some v else None
-           else None)))
-
 (** val parseNumField : bytes -> z **)
 
 let parseNumField s =
   atoi (trim s)
 
-(** val aUTOENROLL : bytes **)
+type 'a res =
+| Ok of 'a
+| Err
+| Panic
 
-let aUTOENROLL =
-  (Npos (XI (XO (XO (XO (XO (XO XH))))))) :: ((Npos (XI (XO (XI (XO (XI (XO
+(** val bind : 'a1 res -> ('a1 -> 'a2 res) -> 'a2 res **)
+
+let bind r f =
+  match r with
+  | Ok a -> f a
+  | Err -> Err
+  | Panic -> Panic
+
+(** val go_slice : 'a1 list -> nat option -> nat option -> 'a1 list res **)
+
+let go_slice l lo hi =
+  let h = match hi with
+          | Some h -> h
+          | None -> length l in
+  let w = match lo with
+          | Some n0 -> n0
+          | None -> O in
+  if (&&) (Nat.leb w h) (Nat.leb h (length l))
+  then Ok (firstn (sub h w) (skipn w l))
+  else Panic
+
+(** val go_index : 'a1 list -> nat -> 'a1 res **)
+
+let go_index l i =
+  match nth_error l i with
+  | Some a -> Ok a
+  | None -> Panic
+
+(** val sl : 'a1 list -> nat -> nat -> 'a1 list res **)
+
+let sl l lo hi =
+  go_slice l (Some lo) (Some hi)
+
+(** val b_sp : bytes **)
+
+let b_sp =
+  (Npos (XO (XO (XO (XO (XO XH)))))) :: []
+
+(** val is_empty : bytes -> bool **)
+
+let is_empty = function
+| [] -> true
+| _ :: _ -> false
+
+(** val process_control : bytes -> bytes res **)
+
+let process_control name =
+  if Nat.ltb (length name) (S (S (S (S (S (S O))))))
+  then Ok []
+  else bind (sl name O (S (S (S (S (S (S O))))))) (fun t -> Ok (trim t))
+
+(** val item_research : bytes -> bytes res **)
+
+let item_research name =
+  if Nat.ltb (length name) (S (S (S (S (S (S (S (S (S (S (S (S (S (S (S (S (S
+       (S (S (S (S (S O))))))))))))))))))))))
+  then Ok []
+  else bind
+         (sl name (S (S (S (S (S (S O)))))) (S (S (S (S (S (S (S (S (S (S (S
+           (S (S (S (S (S (S (S (S (S (S (S O)))))))))))))))))))))))
+         (fun t -> Ok (trim t))
+
+(** val pop_check_serial : bytes -> bytes res **)
+
+let pop_check_serial idn =
+  bind (sl idn O (S (S (S (S (S (S (S (S (S O)))))))))) (fun t -> Ok (trim t))
+
+(** val pop_terminal_city : bytes -> bytes res **)
+
+let pop_terminal_city idn =
+  bind
+    (sl idn (S (S (S (S (S (S (S (S (S O))))))))) (S (S (S (S (S (S (S (S (S
+      (S (S (S (S O)))))))))))))) (fun t -> Ok (trim t))
+
+(** val pop_terminal_state : bytes -> bytes res **)
+
+let pop_terminal_state idn =
+  bind
+    (sl idn (S (S (S (S (S (S (S (S (S (S (S (S (S O))))))))))))) (S (S (S (S
+      (S (S (S (S (S (S (S (S (S (S (S O)))))))))))))))) (fun t -> Ok
+    (trim t))
+
+(** val shr_card_exp : bytes -> bytes res **)
+
+let shr_card_exp idn =
+  if Nat.ltb (length idn) (S (S (S (S O))))
+  then Ok (alphaField (trim idn) (S (S (S (S O)))))
+  else bind (sl idn O (S (S (S (S O))))) (fun t -> Ok
+         (alphaField (trim t) (S (S (S (S O))))))
+
+(** val shr_doc_ref : bytes -> bytes res **)
+
+let shr_doc_ref idn =
+  bind
+    (sl idn (S (S (S (S O)))) (S (S (S (S (S (S (S (S (S (S (S (S (S (S (S
+      O)))))))))))))))) (fun t -> Ok
+    (stringField t (S (S (S (S (S (S (S (S (S (S (S O)))))))))))))
+
+(** val catx_addenda_records : bytes -> bytes res **)
+
+let catx_addenda_records name =
+  if Nat.ltb (rune_count name) (S (S (S (S (S O)))))
+  then Ok name
+  else bind (go_slice name None (Some (S (S (S (S O)))))) (fun t -> Ok
+         (trim t))
+
+(** val catx_receiving : bytes -> bytes res **)
+
+let catx_receiving name =
+  if Nat.ltb (rune_count name) (S (S (S (S O))))
+  then Ok []
+  else go_slice name (Some (S (S (S (S O))))) None
+
+(** val catx_reserved : bytes -> bytes res **)
+
+let catx_reserved name =
+  sl name (S (S (S (S (S (S (S (S (S (S (S (S (S (S (S (S (S (S (S (S
+    O)))))))))))))))))))) (S (S (S (S (S (S (S (S (S (S (S (S (S (S (S (S (S
+    (S (S (S (S (S O))))))))))))))))))))))
+
+(** val set_catx_addenda_records : z -> bytes -> bytes res **)
+
+let set_catx_addenda_records i name =
+  let count = numericField i (S (S (S (S O)))) in
+  if Nat.ltb (S (S (S (S O)))) (rune_count name)
+  then bind (go_slice name (Some (S (S (S (S O))))) None) (fun t -> Ok
+         (app count t))
+  else Ok
+         (app count
+           (app
+             (alphaField b_sp (S (S (S (S (S (S (S (S (S (S (S (S (S (S (S (S
+               O))))))))))))))))) ((Npos (XO (XO (XO (XO (XO
+             XH)))))) :: ((Npos (XO (XO (XO (XO (XO XH)))))) :: []))))
+
+(** val set_catx_receiving : bytes -> bytes -> bytes res **)
+
+let set_catx_receiving s name =
+  if Nat.ltb (S (S (S (S O)))) (rune_count name)
+  then bind (go_slice name None (Some (S (S (S (S O)))))) (fun c -> Ok
+         (app c
+           (app
+             (alphaField s (S (S (S (S (S (S (S (S (S (S (S (S (S (S (S (S
+               O))))))))))))))))) ((Npos (XO (XO (XO (XO (XO
+             XH)))))) :: ((Npos (XO (XO (XO (XO (XO XH)))))) :: [])))))
+  else Ok
+         (app ((Npos (XO (XO (XO (XO (XI XH)))))) :: ((Npos (XO (XO (XO (XO
+           (XI XH)))))) :: ((Npos (XO (XO (XO (XO (XI XH)))))) :: ((Npos (XO
+           (XO (XO (XO (XI XH)))))) :: []))))
+           (app
+             (alphaField s (S (S (S (S (S (S (S (S (S (S (S (S (S (S (S (S
+               O))))))))))))))))) ((Npos (XO (XO (XO (XO (XO
+             XH)))))) :: ((Npos (XO (XO (XO (XO (XO XH)))))) :: []))))
+
+(** val set_rdfi : bytes -> (bytes * bytes) res **)
+
+let set_rdfi rdfi =
+  let s = stringField rdfi (S (S (S (S (S (S (S (S (S O))))))))) in
+  bind (go_slice s None (Some (S (S (S (S (S (S (S (S O)))))))))) (fun a ->
+    bind
+      (sl s (S (S (S (S (S (S (S (S O)))))))) (S (S (S (S (S (S (S (S (S
+        O)))))))))) (fun b -> Ok ((trim a), (trim b))))
+
+(** val iat_payment_amount : bytes -> z res **)
+
+let iat_payment_amount info =
+  bind (sl info O (S (S (S (S (S (S (S (S (S (S O))))))))))) (fun t -> Ok
+    (parseNumField t))
+
+(** val iat_addenda_information : bytes -> bytes res **)
+
+let iat_addenda_information info =
+  bind
+    (sl info (S (S (S (S (S (S (S (S (S O))))))))) (S (S (S (S (S (S (S (S (S
+      (S (S (S (S (S (S (S (S (S (S (S (S (S (S (S (S (S (S (S (S (S (S (S (S
+      (S (S (S (S (S (S (S (S (S (S (S
+      O))))))))))))))))))))))))))))))))))))))))))))) (fun t -> Ok
+    (alphaField t (S (S (S (S (S (S (S (S (S (S (S (S (S (S (S (S (S (S (S (S
+      (S (S (S (S (S (S (S (S (S (S (S (S (S (S
+      O))))))))))))))))))))))))))))))))))))
+
+(** val a99_return_trace : bytes -> bytes res **)
+
+let a99_return_trace info =
+  sl info (S (S (S O))) (S (S (S (S (S (S (S (S (S (S (S (S (S (S (S (S (S (S
+    O))))))))))))))))))
+
+(** val a99_settlement_date : bytes -> bytes res **)
+
+let a99_settlement_date info =
+  sl info (S (S (S (S (S (S (S (S (S (S (S (S (S (S (S (S (S (S
+    O)))))))))))))))))) (S (S (S (S (S (S (S (S (S (S (S (S (S (S (S (S (S (S
+    (S (S (S O)))))))))))))))))))))
+
+(** val a99_reason_code : bytes -> bytes res **)
+
+let a99_reason_code info =
+  bind
+    (sl info (S (S (S (S (S (S (S (S (S (S (S (S (S (S (S (S (S (S (S (S (S
+      O))))))))))))))))))))) (S (S (S (S (S (S (S (S (S (S (S (S (S (S (S (S
+      (S (S (S (S (S (S (S O)))))))))))))))))))))))) (fun t -> Ok ((Npos (XO
+    (XI (XO (XO (XI (XO XH))))))) :: t))
+
+(** val a99_extra : bytes -> bytes res **)
+
+let a99_extra info =
+  go_slice info (Some (S (S (S (S (S (S (S (S (S (S (S (S (S (S (S (S (S (S
+    (S (S (S (S (S O)))))))))))))))))))))))) None
+
+(** val aba8 : bytes -> bytes res **)
+
+let aba8 rtn =
+  let n0 = rune_count rtn in
+  if Nat.ltb (S (S (S (S (S (S (S (S (S (S O)))))))))) n0
+  then Ok []
+  else if Nat.eqb n0 (S (S (S (S (S (S (S (S (S (S O))))))))))
+       then bind (go_index rtn O) (fun c ->
+              if (||) (N.eqb c (Npos (XO (XO (XO (XO (XI XH)))))))
+                   (N.eqb c (Npos (XI (XO (XO (XO (XI XH)))))))
+              then sl rtn (S O) (S (S (S (S (S (S (S (S (S O)))))))))
+              else Ok [])
+       else if (&&) (negb (Nat.eqb n0 (S (S (S (S (S (S (S (S O))))))))))
+                 (negb (Nat.eqb n0 (S (S (S (S (S (S (S (S (S O)))))))))))
+            then Ok []
+            else go_slice rtn None (Some (S (S (S (S (S (S (S (S O)))))))))
+
+(** val first : nat -> bytes -> bytes res **)
+
+let first size0 data =
+  if Nat.ltb (rune_count data) size0
+  then Ok (trim data)
+  else bind (go_slice data None (Some size0)) (fun t -> Ok (trim t))
+
+(** val trc_entry_check : bytes -> unit res **)
+
+let trc_entry_check name =
+  bind (process_control name) (fun p ->
+    if is_empty p
+    then Err
+    else bind (item_research name) (fun r ->
+           if is_empty r then Err else Ok ()))
+
+(** val shr_entry_check : bytes -> (bytes * bytes) res **)
+
+let shr_entry_check idn =
+  bind (shr_card_exp idn) (fun e1 ->
+    bind (sl e1 O (S (S O))) (fun m ->
+      bind (shr_card_exp idn) (fun e2 ->
+        bind (sl e2 (S (S O)) (S (S (S (S O))))) (fun y -> Ok ((trim m),
+          (trim y))))))
+
+(** val record_length : nat **)
+
+let record_length =
+  S (S (S (S (S (S (S (S (S (S (S (S (S (S (S (S (S (S (S (S (S (S (S (S (S
+    (S (S (S (S (S (S (S (S (S (S (S (S (S (S (S (S (S (S (S (S (S (S (S (S
+    (S (S (S (S (S (S (S (S (S (S (S (S (S (S (S (S (S (S (S (S (S (S (S (S
+    (S (S (S (S (S (S (S (S (S (S (S (S (S (S (S (S (S (S (S (S (S
+    O)))))))))))))))))))))))))))))))))))))))))))))))))))))))))))))))))))))))))))))))))))))))))))))
+
+(** val ends_with_space : bytes -> bool **)
+
+let rec ends_with_space = function
+| [] -> false
+| b :: t ->
+  (match t with
+   | [] -> N.eqb b (Npos (XO (XO (XO (XO (XO XH))))))
+   | _ :: _ -> ends_with_space t)
+
+(** val trim_suffix_space : bytes -> bytes **)
+
+let trim_suffix_space s =
+  if ends_with_space s then removelast s else s
+
+(** val trim_long : bytes -> bytes res **)
+
+let trim_long s =
+  bind (go_slice s None (Some record_length)) (fun t -> Ok
+    (trim_suffix_space t))
+
+(** val right_pad : bytes -> bytes res **)
+
+let right_pad s =
+  if Nat.ltb record_length (length s)
+  then Err
+  else Ok (app s (spaces (sub record_length (length s))))
+
+type rec_kind =
+| KFileHeader
+| KBatchHeaderIAT
+| KBatchHeader
+| KEntryDetail
+| KAddenda of bytes * bytes
+| KBatchControl
+| KFileControl
+| KPadding
+| KUnknown
+
+(** val iat_code : bytes **)
+
+let iat_code =
+  (Npos (XI (XO (XO (XI (XO (XO XH))))))) :: ((Npos (XI (XO (XO (XO (XO (XO
+    XH))))))) :: ((Npos (XO (XO (XI (XO (XI (XO XH))))))) :: []))
+
+(** val iatcor_code : bytes **)
+
+let iatcor_code =
+  (Npos (XI (XO (XO (XI (XO (XO XH))))))) :: ((Npos (XI (XO (XO (XO (XO (XO
     XH))))))) :: ((Npos (XO (XO (XI (XO (XI (XO XH))))))) :: ((Npos (XI (XI
-    (XI (XI (XO (XO XH))))))) :: ((Npos (XI (XO (XI (XO (XO (XO
-    XH))))))) :: ((Npos (XO (XI (XI (XI (XO (XO XH))))))) :: ((Npos (XO (XI
-    (XO (XO (XI (XO XH))))))) :: ((Npos (XI (XI (XI (XI (XO (XO
-    XH))))))) :: ((Npos (XO (XO (XI (XI (XO (XO XH))))))) :: ((Npos (XO (XO
-    (XI (XI (XO (XO XH))))))) :: [])))))))))
-
-(** val eNR : bytes **)
-
-let eNR =
-  (Npos (XI (XO (XI (XO (XO (XO XH))))))) :: ((Npos (XO (XI (XI (XI (XO (XO
-    XH))))))) :: ((Npos (XO (XI (XO (XO (XI (XO XH))))))) :: []))
-
-(** val render_custom : string -> recval -> bytes option **)
-
-let render_custom name r =
-  if eqb1 name (String ((Ascii (true, false, false, false, false, false,
-       true, false)), (String ((Ascii (false, false, true, false, false,
-       true, true, false)), (String ((Ascii (false, false, true, false,
-       false, true, true, false)), (String ((Ascii (true, false, true, false,
-       false, true, true, false)), (String ((Ascii (false, true, true, true,
-       false, true, true, false)), (String ((Ascii (false, false, true,
-       false, false, true, true, false)), (String ((Ascii (true, false,
-       false, false, false, true, true, false)), (String ((Ascii (true,
-       false, false, true, true, true, false, false)), (String ((Ascii (true,
-       false, false, true, true, true, false, false)), (String ((Ascii
-       (false, true, true, true, false, true, false, false)), (String ((Ascii
-       (false, false, true, false, false, false, true, false)), (String
-       ((Ascii (true, false, false, false, false, true, true, false)),
-       (String ((Ascii (false, false, true, false, true, true, true, false)),
-       (String ((Ascii (true, false, true, false, false, true, true, false)),
-       (String ((Ascii (true, true, true, true, false, false, true, false)),
-       (String ((Ascii (false, true, true, false, false, true, true, false)),
-       (String ((Ascii (false, false, true, false, false, false, true,
-       false)), (String ((Ascii (true, false, true, false, false, true, true,
-       false)), (String ((Ascii (true, false, false, false, false, true,
-       true, false)), (String ((Ascii (false, false, true, false, true, true,
-       true, false)), (String ((Ascii (false, false, false, true, false,
-       true, true, false)), (String ((Ascii (false, true, true, false, false,
-       false, true, false)), (String ((Ascii (true, false, false, true,
-       false, true, true, false)), (String ((Ascii (true, false, true, false,
-       false, true, true, false)), (String ((Ascii (false, false, true, true,
-       false, true, true, false)), (String ((Ascii (false, false, true,
-       false, false, true, true, false)),
-       EmptyString))))))))))))))))))))))))))))))))))))))))))))))))))))
-  then Some
-         (match gets r (String ((Ascii (false, false, true, false, false,
-                  false, true, false)), (String ((Ascii (true, false, false,
-                  false, false, true, true, false)), (String ((Ascii (false,
-                  false, true, false, true, true, true, false)), (String
-                  ((Ascii (true, false, true, false, false, true, true,
-                  false)), (String ((Ascii (true, true, true, true, false,
-                  false, true, false)), (String ((Ascii (false, true, true,
-                  false, false, true, true, false)), (String ((Ascii (false,
-                  false, true, false, false, false, true, false)), (String
-                  ((Ascii (true, false, true, false, false, true, true,
-                  false)), (String ((Ascii (true, false, false, false, false,
-                  true, true, false)), (String ((Ascii (false, false, true,
-                  false, true, true, true, false)), (String ((Ascii (false,
-                  false, false, true, false, true, true, false)),
-                  EmptyString)))))))))))))))))))))) with
-          | [] -> spaces (S (S (S (S (S (S O))))))
-          | n0 :: l -> n0 :: l)
-  else if eqb1 name (String ((Ascii (false, true, false, false, false, false,
-            true, false)), (String ((Ascii (true, false, false, false, false,
-            true, true, false)), (String ((Ascii (false, false, true, false,
-            true, true, true, false)), (String ((Ascii (true, true, false,
-            false, false, true, true, false)), (String ((Ascii (false, false,
-            false, true, false, true, true, false)), (String ((Ascii (false,
-            false, false, true, false, false, true, false)), (String ((Ascii
-            (true, false, true, false, false, true, true, false)), (String
-            ((Ascii (true, false, false, false, false, true, true, false)),
-            (String ((Ascii (false, false, true, false, false, true, true,
-            false)), (String ((Ascii (true, false, true, false, false, true,
-            true, false)), (String ((Ascii (false, true, false, false, true,
-            true, true, false)), (String ((Ascii (false, true, true, true,
-            false, true, false, false)), (String ((Ascii (true, false, true,
-            false, false, false, true, false)), (String ((Ascii (false, true,
-            true, false, false, true, true, false)), (String ((Ascii (false,
-            true, true, false, false, true, true, false)), (String ((Ascii
-            (true, false, true, false, false, true, true, false)), (String
-            ((Ascii (true, true, false, false, false, true, true, false)),
-            (String ((Ascii (false, false, true, false, true, true, true,
-            false)), (String ((Ascii (true, false, false, true, false, true,
-            true, false)), (String ((Ascii (false, true, true, false, true,
-            true, true, false)), (String ((Ascii (true, false, true, false,
-            false, true, true, false)), (String ((Ascii (true, false, true,
-            false, false, false, true, false)), (String ((Ascii (false, true,
-            true, true, false, true, true, false)), (String ((Ascii (false,
-            false, true, false, true, true, true, false)), (String ((Ascii
-            (false, true, false, false, true, true, true, false)), (String
-            ((Ascii (true, false, false, true, true, true, true, false)),
-            (String ((Ascii (false, false, true, false, false, false, true,
-            false)), (String ((Ascii (true, false, false, false, false, true,
-            true, false)), (String ((Ascii (false, false, true, false, true,
-            true, true, false)), (String ((Ascii (true, false, true, false,
-            false, true, true, false)), (String ((Ascii (false, true, true,
-            false, false, false, true, false)), (String ((Ascii (true, false,
-            false, true, false, true, true, false)), (String ((Ascii (true,
-            false, true, false, false, true, true, false)), (String ((Ascii
-            (false, false, true, true, false, true, true, false)), (String
-            ((Ascii (false, false, true, false, false, true, true, false)),
-            EmptyString))))))))))))))))))))))))))))))))))))))))))))))))))))))))))))))))))))))
-       then Some
-              (if (&&)
-                    (bytes_eqb
-                      (gets r (String ((Ascii (true, true, false, false,
-                        false, false, true, false)), (String ((Ascii (true,
-                        true, true, true, false, true, true, false)), (String
-                        ((Ascii (true, false, true, true, false, true, true,
-                        false)), (String ((Ascii (false, false, false, false,
-                        true, true, true, false)), (String ((Ascii (true,
-                        false, false, false, false, true, true, false)),
-                        (String ((Ascii (false, true, true, true, false,
-                        true, true, false)), (String ((Ascii (true, false,
-                        false, true, true, true, true, false)), (String
-                        ((Ascii (true, false, true, false, false, false,
-                        true, false)), (String ((Ascii (false, true, true,
-                        true, false, true, true, false)), (String ((Ascii
-                        (false, false, true, false, true, true, true,
-                        false)), (String ((Ascii (false, true, false, false,
-                        true, true, true, false)), (String ((Ascii (true,
-                        false, false, true, true, true, true, false)),
-                        (String ((Ascii (false, false, true, false, false,
-                        false, true, false)), (String ((Ascii (true, false,
-                        true, false, false, true, true, false)), (String
-                        ((Ascii (true, true, false, false, true, true, true,
-                        false)), (String ((Ascii (true, true, false, false,
-                        false, true, true, false)), (String ((Ascii (false,
-                        true, false, false, true, true, true, false)),
-                        (String ((Ascii (true, false, false, true, false,
-                        true, true, false)), (String ((Ascii (false, false,
-                        false, false, true, true, true, false)), (String
-                        ((Ascii (false, false, true, false, true, true, true,
-                        false)), (String ((Ascii (true, false, false, true,
-                        false, true, true, false)), (String ((Ascii (true,
-                        true, true, true, false, true, true, false)), (String
-                        ((Ascii (false, true, true, true, false, true, true,
-                        false)),
-                        EmptyString)))))))))))))))))))))))))))))))))))))))))))))))
-                      aUTOENROLL)
-                    (bytes_eqb
-                      (gets r (String ((Ascii (true, true, false, false,
-                        true, false, true, false)), (String ((Ascii (false,
-                        false, true, false, true, true, true, false)),
-                        (String ((Ascii (true, false, false, false, false,
-                        true, true, false)), (String ((Ascii (false, true,
-                        true, true, false, true, true, false)), (String
-                        ((Ascii (false, false, true, false, false, true,
-                        true, false)), (String ((Ascii (true, false, false,
-                        false, false, true, true, false)), (String ((Ascii
-                        (false, true, false, false, true, true, true,
-                        false)), (String ((Ascii (false, false, true, false,
-                        false, true, true, false)), (String ((Ascii (true,
-                        false, true, false, false, false, true, false)),
-                        (String ((Ascii (false, true, true, true, false,
-                        true, true, false)), (String ((Ascii (false, false,
-                        true, false, true, true, true, false)), (String
-                        ((Ascii (false, true, false, false, true, true, true,
-                        false)), (String ((Ascii (true, false, false, true,
-                        true, true, true, false)), (String ((Ascii (true,
-                        true, false, false, false, false, true, false)),
-                        (String ((Ascii (false, false, true, true, false,
-                        true, true, false)), (String ((Ascii (true, false,
-                        false, false, false, true, true, false)), (String
-                        ((Ascii (true, true, false, false, true, true, true,
-                        false)), (String ((Ascii (true, true, false, false,
-                        true, true, true, false)), (String ((Ascii (true,
-                        true, false, false, false, false, true, false)),
-                        (String ((Ascii (true, true, true, true, false, true,
-                        true, false)), (String ((Ascii (false, false, true,
-                        false, false, true, true, false)), (String ((Ascii
-                        (true, false, true, false, false, true, true,
-                        false)),
-                        EmptyString)))))))))))))))))))))))))))))))))))))))))))))
-                      eNR)
-               then spaces (S (S (S (S (S (S O))))))
-               else stringField
-                      (gets r (String ((Ascii (true, false, true, false,
-                        false, false, true, false)), (String ((Ascii (false,
-                        true, true, false, false, true, true, false)),
-                        (String ((Ascii (false, true, true, false, false,
-                        true, true, false)), (String ((Ascii (true, false,
-                        true, false, false, true, true, false)), (String
-                        ((Ascii (true, true, false, false, false, true, true,
-                        false)), (String ((Ascii (false, false, true, false,
-                        true, true, true, false)), (String ((Ascii (true,
-                        false, false, true, false, true, true, false)),
-                        (String ((Ascii (false, true, true, false, true,
-                        true, true, false)), (String ((Ascii (true, false,
-                        true, false, false, true, true, false)), (String
-                        ((Ascii (true, false, true, false, false, false,
-                        true, false)), (String ((Ascii (false, true, true,
-                        true, false, true, true, false)), (String ((Ascii
-                        (false, false, true, false, true, true, true,
-                        false)), (String ((Ascii (false, true, false, false,
-                        true, true, true, false)), (String ((Ascii (true,
-                        false, false, true, true, true, true, false)),
-                        (String ((Ascii (false, false, true, false, false,
-                        false, true, false)), (String ((Ascii (true, false,
-                        false, false, false, true, true, false)), (String
-                        ((Ascii (false, false, true, false, true, true, true,
-                        false)), (String ((Ascii (true, false, true, false,
-                        false, true, true, false)),
-                        EmptyString))))))))))))))))))))))))))))))))))))) (S
-                      (S (S (S (S (S O)))))))
-       else if eqb1 name (String ((Ascii (false, true, true, false, false,
-                 false, true, false)), (String ((Ascii (true, false, false,
-                 true, false, true, true, false)), (String ((Ascii (false,
-                 false, true, true, false, true, true, false)), (String
-                 ((Ascii (true, false, true, false, false, true, true,
-                 false)), (String ((Ascii (false, false, false, true, false,
-                 false, true, false)), (String ((Ascii (true, false, true,
-                 false, false, true, true, false)), (String ((Ascii (true,
-                 false, false, false, false, true, true, false)), (String
-                 ((Ascii (false, false, true, false, false, true, true,
-                 false)), (String ((Ascii (true, false, true, false, false,
-                 true, true, false)), (String ((Ascii (false, true, false,
-                 false, true, true, true, false)), (String ((Ascii (false,
-                 true, true, true, false, true, false, false)), (String
-                 ((Ascii (true, false, false, true, false, false, true,
-                 false)), (String ((Ascii (true, false, true, true, false,
-                 true, true, false)), (String ((Ascii (true, false, true,
-                 true, false, true, true, false)), (String ((Ascii (true,
-                 false, true, false, false, true, true, false)), (String
-                 ((Ascii (false, false, true, false, false, true, true,
-                 false)), (String ((Ascii (true, false, false, true, false,
-                 true, true, false)), (String ((Ascii (true, false, false,
-                 false, false, true, true, false)), (String ((Ascii (false,
-                 false, true, false, true, true, true, false)), (String
-                 ((Ascii (true, false, true, false, false, true, true,
-                 false)), (String ((Ascii (false, false, true, false, false,
-                 false, true, false)), (String ((Ascii (true, false, true,
-                 false, false, true, true, false)), (String ((Ascii (true,
-                 true, false, false, true, true, true, false)), (String
-                 ((Ascii (false, false, true, false, true, true, true,
-                 false)), (String ((Ascii (true, false, false, true, false,
-                 true, true, false)), (String ((Ascii (false, true, true,
-                 true, false, true, true, false)), (String ((Ascii (true,
-                 false, false, false, false, true, true, false)), (String
-                 ((Ascii (false, false, true, false, true, true, true,
-                 false)), (String ((Ascii (true, false, false, true, false,
-                 true, true, false)), (String ((Ascii (true, true, true,
-                 true, false, true, true, false)), (String ((Ascii (false,
-                 true, true, true, false, true, true, false)), (String
-                 ((Ascii (false, true, true, false, false, false, true,
-                 false)), (String ((Ascii (true, false, false, true, false,
-                 true, true, false)), (String ((Ascii (true, false, true,
-                 false, false, true, true, false)), (String ((Ascii (false,
-                 false, true, true, false, true, true, false)), (String
-                 ((Ascii (false, false, true, false, false, true, true,
-                 false)),
-                 EmptyString))))))))))))))))))))))))))))))))))))))))))))))))))))))))))))))))))))))))
-            then Some
-                   (match gets r (String ((Ascii (true, false, false, true,
-                            false, false, true, false)), (String ((Ascii
-                            (true, false, true, true, false, true, true,
-                            false)), (String ((Ascii (true, false, true,
-                            true, false, true, true, false)), (String ((Ascii
-                            (true, false, true, false, false, true, true,
-                            false)), (String ((Ascii (false, false, true,
-                            false, false, true, true, false)), (String
-                            ((Ascii (true, false, false, true, false, true,
-                            true, false)), (String ((Ascii (true, false,
-                            false, false, false, true, true, false)), (String
-                            ((Ascii (false, false, true, false, true, true,
-                            true, false)), (String ((Ascii (true, false,
-                            true, false, false, true, true, false)), (String
-                            ((Ascii (false, false, true, false, false, false,
-                            true, false)), (String ((Ascii (true, false,
-                            true, false, false, true, true, false)), (String
-                            ((Ascii (true, true, false, false, true, true,
-                            true, false)), (String ((Ascii (false, false,
-                            true, false, true, true, true, false)), (String
-                            ((Ascii (true, false, false, true, false, true,
-                            true, false)), (String ((Ascii (false, true,
-                            true, true, false, true, true, false)), (String
-                            ((Ascii (true, false, false, false, false, true,
-                            true, false)), (String ((Ascii (false, false,
-                            true, false, true, true, true, false)), (String
-                            ((Ascii (true, false, false, true, false, true,
-                            true, false)), (String ((Ascii (true, true, true,
-                            true, false, true, true, false)), (String ((Ascii
-                            (false, true, true, true, false, true, true,
-                            false)),
-                            EmptyString)))))))))))))))))))))))))))))))))))))))) with
-                    | [] -> spaces (S (S (S (S (S (S (S (S (S (S O))))))))))
-                    | n0 :: l ->
-                      sp :: (stringField (trim (n0 :: l)) (S (S (S (S (S (S
-                              (S (S (S O)))))))))))
-            else if eqb1 name (String ((Ascii (false, true, true, false,
-                      false, false, true, false)), (String ((Ascii (true,
-                      false, false, true, false, true, true, false)), (String
-                      ((Ascii (false, false, true, true, false, true, true,
-                      false)), (String ((Ascii (true, false, true, false,
-                      false, true, true, false)), (String ((Ascii (false,
-                      false, false, true, false, false, true, false)),
-                      (String ((Ascii (true, false, true, false, false, true,
-                      true, false)), (String ((Ascii (true, false, false,
-                      false, false, true, true, false)), (String ((Ascii
-                      (false, false, true, false, false, true, true, false)),
-                      (String ((Ascii (true, false, true, false, false, true,
-                      true, false)), (String ((Ascii (false, true, false,
-                      false, true, true, true, false)), (String ((Ascii
-                      (false, true, true, true, false, true, false, false)),
-                      (String ((Ascii (true, false, false, true, false,
-                      false, true, false)), (String ((Ascii (true, false,
-                      true, true, false, true, true, false)), (String ((Ascii
-                      (true, false, true, true, false, true, true, false)),
-                      (String ((Ascii (true, false, true, false, false, true,
-                      true, false)), (String ((Ascii (false, false, true,
-                      false, false, true, true, false)), (String ((Ascii
-                      (true, false, false, true, false, true, true, false)),
-                      (String ((Ascii (true, false, false, false, false,
-                      true, true, false)), (String ((Ascii (false, false,
-                      true, false, true, true, true, false)), (String ((Ascii
-                      (true, false, true, false, false, true, true, false)),
-                      (String ((Ascii (true, true, true, true, false, false,
-                      true, false)), (String ((Ascii (false, true, false,
-                      false, true, true, true, false)), (String ((Ascii
-                      (true, false, false, true, false, true, true, false)),
-                      (String ((Ascii (true, true, true, false, false, true,
-                      true, false)), (String ((Ascii (true, false, false,
-                      true, false, true, true, false)), (String ((Ascii
-                      (false, true, true, true, false, true, true, false)),
-                      (String ((Ascii (false, true, true, false, false,
-                      false, true, false)), (String ((Ascii (true, false,
-                      false, true, false, true, true, false)), (String
-                      ((Ascii (true, false, true, false, false, true, true,
-                      false)), (String ((Ascii (false, false, true, true,
-                      false, true, true, false)), (String ((Ascii (false,
-                      false, true, false, false, true, true, false)),
-                      EmptyString))))))))))))))))))))))))))))))))))))))))))))))))))))))))))))))
-                 then Some
-                        (match gets r (String ((Ascii (true, false, false,
-                                 true, false, false, true, false)), (String
-                                 ((Ascii (true, false, true, true, false,
-                                 true, true, false)), (String ((Ascii (true,
-                                 false, true, true, false, true, true,
-                                 false)), (String ((Ascii (true, false, true,
-                                 false, false, true, true, false)), (String
-                                 ((Ascii (false, false, true, false, false,
-                                 true, true, false)), (String ((Ascii (true,
-                                 false, false, true, false, true, true,
-                                 false)), (String ((Ascii (true, false,
-                                 false, false, false, true, true, false)),
-                                 (String ((Ascii (false, false, true, false,
-                                 true, true, true, false)), (String ((Ascii
-                                 (true, false, true, false, false, true,
-                                 true, false)), (String ((Ascii (true, true,
-                                 true, true, false, false, true, false)),
-                                 (String ((Ascii (false, true, false, false,
-                                 true, true, true, false)), (String ((Ascii
-                                 (true, false, false, true, false, true,
-                                 true, false)), (String ((Ascii (true, true,
-                                 true, false, false, true, true, false)),
-                                 (String ((Ascii (true, false, false, true,
-                                 false, true, true, false)), (String ((Ascii
-                                 (false, true, true, true, false, true, true,
-                                 false)),
-                                 EmptyString)))))))))))))))))))))))))))))) with
-                         | [] ->
-                           spaces (S (S (S (S (S (S (S (S (S (S O))))))))))
-                         | n0 :: l ->
-                           sp :: (stringField (trim (n0 :: l)) (S (S (S (S (S
-                                   (S (S (S (S O)))))))))))
-                 else if eqb1 name (String ((Ascii (false, true, true, false,
-                           false, false, true, false)), (String ((Ascii
-                           (true, false, false, true, false, true, true,
-                           false)), (String ((Ascii (false, false, true,
-                           true, false, true, true, false)), (String ((Ascii
-                           (true, false, true, false, false, true, true,
-                           false)), (String ((Ascii (false, false, false,
-                           true, false, false, true, false)), (String ((Ascii
-                           (true, false, true, false, false, true, true,
-                           false)), (String ((Ascii (true, false, false,
-                           false, false, true, true, false)), (String ((Ascii
-                           (false, false, true, false, false, true, true,
-                           false)), (String ((Ascii (true, false, true,
-                           false, false, true, true, false)), (String ((Ascii
-                           (false, true, false, false, true, true, true,
-                           false)), (String ((Ascii (false, true, true, true,
-                           false, true, false, false)), (String ((Ascii
-                           (false, true, true, false, false, false, true,
-                           false)), (String ((Ascii (true, false, false,
-                           true, false, true, true, false)), (String ((Ascii
-                           (false, false, true, true, false, true, true,
-                           false)), (String ((Ascii (true, false, true,
-                           false, false, true, true, false)), (String ((Ascii
-                           (true, true, false, false, false, false, true,
-                           false)), (String ((Ascii (false, true, false,
-                           false, true, true, true, false)), (String ((Ascii
-                           (true, false, true, false, false, true, true,
-                           false)), (String ((Ascii (true, false, false,
-                           false, false, true, true, false)), (String ((Ascii
-                           (false, false, true, false, true, true, true,
-                           false)), (String ((Ascii (true, false, false,
-                           true, false, true, true, false)), (String ((Ascii
-                           (true, true, true, true, false, true, true,
-                           false)), (String ((Ascii (false, true, true, true,
-                           false, true, true, false)), (String ((Ascii
-                           (false, false, true, false, false, false, true,
-                           false)), (String ((Ascii (true, false, false,
-                           false, false, true, true, false)), (String ((Ascii
-                           (false, false, true, false, true, true, true,
-                           false)), (String ((Ascii (true, false, true,
-                           false, false, true, true, false)), (String ((Ascii
-                           (false, true, true, false, false, false, true,
-                           false)), (String ((Ascii (true, false, false,
-                           true, false, true, true, false)), (String ((Ascii
-                           (true, false, true, false, false, true, true,
-                           false)), (String ((Ascii (false, false, true,
-                           true, false, true, true, false)), (String ((Ascii
-                           (false, false, true, false, false, true, true,
-                           false)),
-                           EmptyString))))))))))))))))))))))))))))))))))))))))))))))))))))))))))))))))
-                      then if Nat.eqb
-                                (rune_count
-                                  (gets r (String ((Ascii (false, true, true,
-                                    false, false, false, true, false)),
-                                    (String ((Ascii (true, false, false,
-                                    true, false, true, true, false)), (String
-                                    ((Ascii (false, false, true, true, false,
-                                    true, true, false)), (String ((Ascii
-                                    (true, false, true, false, false, true,
-                                    true, false)), (String ((Ascii (true,
-                                    true, false, false, false, false, true,
-                                    false)), (String ((Ascii (false, true,
-                                    false, false, true, true, true, false)),
-                                    (String ((Ascii (true, false, true,
-                                    false, false, true, true, false)),
-                                    (String ((Ascii (true, false, false,
-                                    false, false, true, true, false)),
-                                    (String ((Ascii (false, false, true,
-                                    false, true, true, true, false)), (String
-                                    ((Ascii (true, false, false, true, false,
-                                    true, true, false)), (String ((Ascii
-                                    (true, true, true, true, false, true,
-                                    true, false)), (String ((Ascii (false,
-                                    true, true, true, false, true, true,
-                                    false)), (String ((Ascii (false, false,
-                                    true, false, false, false, true, false)),
-                                    (String ((Ascii (true, false, false,
-                                    false, false, true, true, false)),
-                                    (String ((Ascii (false, false, true,
-                                    false, true, true, true, false)), (String
-                                    ((Ascii (true, false, true, false, false,
-                                    true, true, false)),
-                                    EmptyString))))))))))))))))))))))))))))))))))
-                                (S (S (S (S (S (S O))))))
-                           then Some
-                                  (gets r (String ((Ascii (false, true, true,
-                                    false, false, false, true, false)),
-                                    (String ((Ascii (true, false, false,
-                                    true, false, true, true, false)), (String
-                                    ((Ascii (false, false, true, true, false,
-                                    true, true, false)), (String ((Ascii
-                                    (true, false, true, false, false, true,
-                                    true, false)), (String ((Ascii (true,
-                                    true, false, false, false, false, true,
-                                    false)), (String ((Ascii (false, true,
-                                    false, false, true, true, true, false)),
-                                    (String ((Ascii (true, false, true,
-                                    false, false, true, true, false)),
-                                    (String ((Ascii (true, false, false,
-                                    false, false, true, true, false)),
-                                    (String ((Ascii (false, false, true,
-                                    false, true, true, true, false)), (String
-                                    ((Ascii (true, false, false, true, false,
-                                    true, true, false)), (String ((Ascii
-                                    (true, true, true, true, false, true,
-                                    true, false)), (String ((Ascii (false,
-                                    true, true, true, false, true, true,
-                                    false)), (String ((Ascii (false, false,
-                                    true, false, false, false, true, false)),
-                                    (String ((Ascii (true, false, false,
-                                    false, false, true, true, false)),
-                                    (String ((Ascii (false, false, true,
-                                    false, true, true, true, false)), (String
-                                    ((Ascii (true, false, true, false, false,
-                                    true, true, false)),
-                                    EmptyString)))))))))))))))))))))))))))))))))
-                           else None
-                      else if eqb1 name (String ((Ascii (false, true, true,
-                                false, false, false, true, false)), (String
-                                ((Ascii (true, false, false, true, false,
-                                true, true, false)), (String ((Ascii (false,
-                                false, true, true, false, true, true,
-                                false)), (String ((Ascii (true, false, true,
-                                false, false, true, true, false)), (String
-                                ((Ascii (false, false, false, true, false,
-                                false, true, false)), (String ((Ascii (true,
-                                false, true, false, false, true, true,
-                                false)), (String ((Ascii (true, false, false,
-                                false, false, true, true, false)), (String
-                                ((Ascii (false, false, true, false, false,
-                                true, true, false)), (String ((Ascii (true,
-                                false, true, false, false, true, true,
-                                false)), (String ((Ascii (false, true, false,
-                                false, true, true, true, false)), (String
-                                ((Ascii (false, true, true, true, false,
-                                true, false, false)), (String ((Ascii (false,
-                                true, true, false, false, false, true,
-                                false)), (String ((Ascii (true, false, false,
-                                true, false, true, true, false)), (String
-                                ((Ascii (false, false, true, true, false,
-                                true, true, false)), (String ((Ascii (true,
-                                false, true, false, false, true, true,
-                                false)), (String ((Ascii (true, true, false,
-                                false, false, false, true, false)), (String
-                                ((Ascii (false, true, false, false, true,
-                                true, true, false)), (String ((Ascii (true,
-                                false, true, false, false, true, true,
-                                false)), (String ((Ascii (true, false, false,
-                                false, false, true, true, false)), (String
-                                ((Ascii (false, false, true, false, true,
-                                true, true, false)), (String ((Ascii (true,
-                                false, false, true, false, true, true,
-                                false)), (String ((Ascii (true, true, true,
-                                true, false, true, true, false)), (String
-                                ((Ascii (false, true, true, true, false,
-                                true, true, false)), (String ((Ascii (false,
-                                false, true, false, true, false, true,
-                                false)), (String ((Ascii (true, false, false,
-                                true, false, true, true, false)), (String
-                                ((Ascii (true, false, true, true, false,
-                                true, true, false)), (String ((Ascii (true,
-                                false, true, false, false, true, true,
-                                false)), (String ((Ascii (false, true, true,
-                                false, false, false, true, false)), (String
-                                ((Ascii (true, false, false, true, false,
-                                true, true, false)), (String ((Ascii (true,
-                                false, true, false, false, true, true,
-                                false)), (String ((Ascii (false, false, true,
-                                true, false, true, true, false)), (String
-                                ((Ascii (false, false, true, false, false,
-                                true, true, false)),
-                                EmptyString))))))))))))))))))))))))))))))))))))))))))))))))))))))))))))))))
-                           then if Nat.eqb
-                                     (rune_count
-                                       (gets r (String ((Ascii (false, true,
-                                         true, false, false, false, true,
-                                         false)), (String ((Ascii (true,
-                                         false, false, true, false, true,
-                                         true, false)), (String ((Ascii
-                                         (false, false, true, true, false,
-                                         true, true, false)), (String ((Ascii
-                                         (true, false, true, false, false,
-                                         true, true, false)), (String ((Ascii
-                                         (true, true, false, false, false,
-                                         false, true, false)), (String
-                                         ((Ascii (false, true, false, false,
-                                         true, true, true, false)), (String
-                                         ((Ascii (true, false, true, false,
-                                         false, true, true, false)), (String
-                                         ((Ascii (true, false, false, false,
-                                         false, true, true, false)), (String
-                                         ((Ascii (false, false, true, false,
-                                         true, true, true, false)), (String
-                                         ((Ascii (true, false, false, true,
-                                         false, true, true, false)), (String
-                                         ((Ascii (true, true, true, true,
-                                         false, true, true, false)), (String
-                                         ((Ascii (false, true, true, true,
-                                         false, true, true, false)), (String
-                                         ((Ascii (false, false, true, false,
-                                         true, false, true, false)), (String
-                                         ((Ascii (true, false, false, true,
-                                         false, true, true, false)), (String
-                                         ((Ascii (true, false, true, true,
-                                         false, true, true, false)), (String
-                                         ((Ascii (true, false, true, false,
-                                         false, true, true, false)),
-                                         EmptyString))))))))))))))))))))))))))))))))))
-                                     (S (S (S (S O))))
-                                then Some
-                                       (gets r (String ((Ascii (false, true,
-                                         true, false, false, false, true,
-                                         false)), (String ((Ascii (true,
-                                         false, false, true, false, true,
-                                         true, false)), (String ((Ascii
-                                         (false, false, true, true, false,
-                                         true, true, false)), (String ((Ascii
-                                         (true, false, true, false, false,
-                                         true, true, false)), (String ((Ascii
-                                         (true, true, false, false, false,
-                                         false, true, false)), (String
-                                         ((Ascii (false, true, false, false,
-                                         true, true, true, false)), (String
-                                         ((Ascii (true, false, true, false,
-                                         false, true, true, false)), (String
-                                         ((Ascii (true, false, false, false,
-                                         false, true, true, false)), (String
-                                         ((Ascii (false, false, true, false,
-                                         true, true, true, false)), (String
-                                         ((Ascii (true, false, false, true,
-                                         false, true, true, false)), (String
-                                         ((Ascii (true, true, true, true,
-                                         false, true, true, false)), (String
-                                         ((Ascii (false, true, true, true,
-                                         false, true, true, false)), (String
-                                         ((Ascii (false, false, true, false,
-                                         true, false, true, false)), (String
-                                         ((Ascii (true, false, false, true,
-                                         false, true, true, false)), (String
-                                         ((Ascii (true, false, true, true,
-                                         false, true, true, false)), (String
-                                         ((Ascii (true, false, true, false,
-                                         false, true, true, false)),
-                                         EmptyString)))))))))))))))))))))))))))))))))
-                                else None
-                           else if eqb1 name (String ((Ascii (true, false,
-                                     false, true, false, false, true,
-                                     false)), (String ((Ascii (true, false,
-                                     false, false, false, false, true,
-                                     false)), (String ((Ascii (false, false,
-                                     true, false, true, false, true, false)),
-                                     (String ((Ascii (false, true, false,
-                                     false, false, false, true, false)),
-                                     (String ((Ascii (true, false, false,
-                                     false, false, true, true, false)),
-                                     (String ((Ascii (false, false, true,
-                                     false, true, true, true, false)),
-                                     (String ((Ascii (true, true, false,
-                                     false, false, true, true, false)),
-                                     (String ((Ascii (false, false, false,
-                                     true, false, true, true, false)),
-                                     (String ((Ascii (false, false, false,
-                                     true, false, false, true, false)),
-                                     (String ((Ascii (true, false, true,
-                                     false, false, true, true, false)),
-                                     (String ((Ascii (true, false, false,
-                                     false, false, true, true, false)),
-                                     (String ((Ascii (false, false, true,
-                                     false, false, true, true, false)),
-                                     (String ((Ascii (true, false, true,
-                                     false, false, true, true, false)),
-                                     (String ((Ascii (false, true, false,
-                                     false, true, true, true, false)),
-                                     (String ((Ascii (false, true, true,
-                                     true, false, true, false, false)),
-                                     (String ((Ascii (false, true, true,
-                                     false, false, false, true, false)),
-                                     (String ((Ascii (true, true, true, true,
-                                     false, true, true, false)), (String
-                                     ((Ascii (false, true, false, false,
-                                     true, true, true, false)), (String
-                                     ((Ascii (true, false, true, false,
-                                     false, true, true, false)), (String
-                                     ((Ascii (true, false, false, true,
-                                     false, true, true, false)), (String
-                                     ((Ascii (true, true, true, false, false,
-                                     true, true, false)), (String ((Ascii
-                                     (false, true, true, true, false, true,
-                                     true, false)), (String ((Ascii (true,
-                                     false, true, false, false, false, true,
-                                     false)), (String ((Ascii (false, false,
-                                     false, true, true, true, true, false)),
-                                     (String ((Ascii (true, true, false,
-                                     false, false, true, true, false)),
-                                     (String ((Ascii (false, false, false,
-                                     true, false, true, true, false)),
-                                     (String ((Ascii (true, false, false,
-                                     false, false, true, true, false)),
-                                     (String ((Ascii (false, true, true,
-                                     true, false, true, true, false)),
-                                     (String ((Ascii (true, true, true,
-                                     false, false, true, true, false)),
-                                     (String ((Ascii (true, false, true,
-                                     false, false, true, true, false)),
-                                     (String ((Ascii (false, true, false,
-                                     false, true, false, true, false)),
-                                     (String ((Ascii (true, false, true,
-                                     false, false, true, true, false)),
-                                     (String ((Ascii (false, true, true,
-                                     false, false, true, true, false)),
-                                     (String ((Ascii (true, false, true,
-                                     false, false, true, true, false)),
-                                     (String ((Ascii (false, true, false,
-                                     false, true, true, true, false)),
-                                     (String ((Ascii (true, false, true,
-                                     false, false, true, true, false)),
-                                     (String ((Ascii (false, true, true,
-                                     true, false, true, true, false)),
-                                     (String ((Ascii (true, true, false,
-                                     false, false, true, true, false)),
-                                     (String ((Ascii (true, false, true,
-                                     false, false, true, true, false)),
-                                     (String ((Ascii (false, true, true,
-                                     false, false, false, true, false)),
-                                     (String ((Ascii (true, false, false,
-                                     true, false, true, true, false)),
-                                     (String ((Ascii (true, false, true,
-                                     false, false, true, true, false)),
-                                     (String ((Ascii (false, false, true,
-                                     true, false, true, true, false)),
-                                     (String ((Ascii (false, false, true,
-                                     false, false, true, true, false)),
-                                     EmptyString))))))))))))))))))))))))))))))))))))))))))))))))))))))))))))))))))))))))))))))))))))))))
-                                then Some
-                                       (if Z.eqb
-                                             (geti r (String ((Ascii (false,
-                                               true, true, false, false,
-                                               false, true, false)), (String
-                                               ((Ascii (true, true, true,
-                                               true, false, true, true,
-                                               false)), (String ((Ascii
-                                               (false, true, false, false,
-                                               true, true, true, false)),
-                                               (String ((Ascii (true, false,
-                                               true, false, false, true,
-                                               true, false)), (String ((Ascii
-                                               (true, false, false, true,
-                                               false, true, true, false)),
-                                               (String ((Ascii (true, true,
-                                               true, false, false, true,
-                                               true, false)), (String ((Ascii
-                                               (false, true, true, true,
-                                               false, true, true, false)),
-                                               (String ((Ascii (true, false,
-                                               true, false, false, false,
-                                               true, false)), (String ((Ascii
-                                               (false, false, false, true,
-                                               true, true, true, false)),
-                                               (String ((Ascii (true, true,
-                                               false, false, false, true,
-                                               true, false)), (String ((Ascii
-                                               (false, false, false, true,
-                                               false, true, true, false)),
-                                               (String ((Ascii (true, false,
-                                               false, false, false, true,
-                                               true, false)), (String ((Ascii
-                                               (false, true, true, true,
-                                               false, true, true, false)),
-                                               (String ((Ascii (true, true,
-                                               true, false, false, true,
-                                               true, false)), (String ((Ascii
-                                               (true, false, true, false,
-                                               false, true, true, false)),
-                                               (String ((Ascii (false, true,
-                                               false, false, true, false,
-                                               true, false)), (String ((Ascii
-                                               (true, false, true, false,
-                                               false, true, true, false)),
-                                               (String ((Ascii (false, true,
-                                               true, false, false, true,
-                                               true, false)), (String ((Ascii
-                                               (true, false, true, false,
-                                               false, true, true, false)),
-                                               (String ((Ascii (false, true,
-                                               false, false, true, true,
-                                               true, false)), (String ((Ascii
-                                               (true, false, true, false,
-                                               false, true, true, false)),
-                                               (String ((Ascii (false, true,
-                                               true, true, false, true, true,
-                                               false)), (String ((Ascii
-                                               (true, true, false, false,
-                                               false, true, true, false)),
-                                               (String ((Ascii (true, false,
-                                               true, false, false, true,
-                                               true, false)), (String ((Ascii
-                                               (true, false, false, true,
-                                               false, false, true, false)),
-                                               (String ((Ascii (false, true,
-                                               true, true, false, true, true,
-                                               false)), (String ((Ascii
-                                               (false, false, true, false,
-                                               false, true, true, false)),
-                                               (String ((Ascii (true, false,
-                                               false, true, false, true,
-                                               true, false)), (String ((Ascii
-                                               (true, true, false, false,
-                                               false, true, true, false)),
-                                               (String ((Ascii (true, false,
-                                               false, false, false, true,
-                                               true, false)), (String ((Ascii
-                                               (false, false, true, false,
-                                               true, true, true, false)),
-                                               (String ((Ascii (true, true,
-                                               true, true, false, true, true,
-                                               false)), (String ((Ascii
-                                               (false, true, false, false,
-                                               true, true, true, false)),
-                                               EmptyString)))))))))))))))))))))))))))))))))))))))))))))))))))))))))))))))))))
-                                             (Zpos (XI XH))
-                                        then spaces (S (S (S (S (S (S (S (S
-                                               (S (S (S (S (S (S (S
-                                               O)))))))))))))))
-                                        else alphaField
-                                               (gets r (String ((Ascii
-                                                 (false, true, true, false,
-                                                 false, false, true, false)),
-                                                 (String ((Ascii (true, true,
-                                                 true, true, false, true,
-                                                 true, false)), (String
-                                                 ((Ascii (false, true, false,
-                                                 false, true, true, true,
-                                                 false)), (String ((Ascii
-                                                 (true, false, true, false,
-                                                 false, true, true, false)),
-                                                 (String ((Ascii (true,
-                                                 false, false, true, false,
-                                                 true, true, false)), (String
-                                                 ((Ascii (true, true, true,
-                                                 false, false, true, true,
-                                                 false)), (String ((Ascii
-                                                 (false, true, true, true,
-                                                 false, true, true, false)),
-                                                 (String ((Ascii (true,
-                                                 false, true, false, false,
-                                                 false, true, false)),
-                                                 (String ((Ascii (false,
-                                                 false, false, true, true,
-                                                 true, true, false)), (String
-                                                 ((Ascii (true, true, false,
-                                                 false, false, true, true,
-                                                 false)), (String ((Ascii
-                                                 (false, false, false, true,
-                                                 false, true, true, false)),
-                                                 (String ((Ascii (true,
-                                                 false, false, false, false,
-                                                 true, true, false)), (String
-                                                 ((Ascii (false, true, true,
-                                                 true, false, true, true,
-                                                 false)), (String ((Ascii
-                                                 (true, true, true, false,
-                                                 false, true, true, false)),
-                                                 (String ((Ascii (true,
-                                                 false, true, false, false,
-                                                 true, true, false)), (String
-                                                 ((Ascii (false, true, false,
-                                                 false, true, false, true,
-                                                 false)), (String ((Ascii
-                                                 (true, false, true, false,
-                                                 false, true, true, false)),
-                                                 (String ((Ascii (false,
-                                                 true, true, false, false,
-                                                 true, true, false)), (String
-                                                 ((Ascii (true, false, true,
-                                                 false, false, true, true,
-                                                 false)), (String ((Ascii
-                                                 (false, true, false, false,
-                                                 true, true, true, false)),
-                                                 (String ((Ascii (true,
-                                                 false, true, false, false,
-                                                 true, true, false)), (String
-                                                 ((Ascii (false, true, true,
-                                                 true, false, true, true,
-                                                 false)), (String ((Ascii
-                                                 (true, true, false, false,
-                                                 false, true, true, false)),
-                                                 (String ((Ascii (true,
-                                                 false, true, false, false,
-                                                 true, true, false)),
-                                                 EmptyString)))))))))))))))))))))))))))))))))))))))))))))))))
-                                               (S (S (S (S (S (S (S (S (S (S
-                                               (S (S (S (S (S O))))))))))))))))
-                                else if eqb1 name (String ((Ascii (true,
-                                          false, false, false, false, false,
-                                          true, false)), (String ((Ascii
-                                          (false, false, true, false, false,
-                                          true, true, false)), (String
-                                          ((Ascii (false, false, true, false,
-                                          false, true, true, false)), (String
-                                          ((Ascii (true, false, true, false,
-                                          false, true, true, false)), (String
-                                          ((Ascii (false, true, true, true,
-                                          false, true, true, false)), (String
-                                          ((Ascii (false, false, true, false,
-                                          false, true, true, false)), (String
-                                          ((Ascii (true, false, false, false,
-                                          false, true, true, false)), (String
-                                          ((Ascii (true, false, false, true,
-                                          true, true, false, false)), (String
-                                          ((Ascii (false, false, false, true,
-                                          true, true, false, false)), (String
-                                          ((Ascii (false, true, true, true,
-                                          false, true, false, false)),
-                                          (String ((Ascii (true, true, false,
-                                          false, false, false, true, false)),
-                                          (String ((Ascii (true, true, true,
-                                          true, false, true, true, false)),
-                                          (String ((Ascii (false, true,
-                                          false, false, true, true, true,
-                                          false)), (String ((Ascii (false,
-                                          true, false, false, true, true,
-                                          true, false)), (String ((Ascii
-                                          (true, false, true, false, false,
-                                          true, true, false)), (String
-                                          ((Ascii (true, true, false, false,
-                                          false, true, true, false)), (String
-                                          ((Ascii (false, false, true, false,
-                                          true, true, true, false)), (String
-                                          ((Ascii (true, false, true, false,
-                                          false, true, true, false)), (String
-                                          ((Ascii (false, false, true, false,
-                                          false, true, true, false)), (String
-                                          ((Ascii (false, false, true, false,
-                                          false, false, true, false)),
-                                          (String ((Ascii (true, false,
-                                          false, false, false, true, true,
-                                          false)), (String ((Ascii (false,
-                                          false, true, false, true, true,
-                                          true, false)), (String ((Ascii
-                                          (true, false, false, false, false,
-                                          true, true, false)), (String
-                                          ((Ascii (false, true, true, false,
-                                          false, false, true, false)),
-                                          (String ((Ascii (true, false,
-                                          false, true, false, true, true,
-                                          false)), (String ((Ascii (true,
-                                          false, true, false, false, true,
-                                          true, false)), (String ((Ascii
-                                          (false, false, true, true, false,
-                                          true, true, false)), (String
-                                          ((Ascii (false, false, true, false,
-                                          false, true, true, false)),
-                                          EmptyString))))))))))))))))))))))))))))))))))))))))))))))))))))))))
-                                     then Some
-                                            (match gets r (String ((Ascii
-                                                     (true, false, false,
-                                                     true, false, true, true,
-                                                     false)), (String ((Ascii
-                                                     (true, false, false,
-                                                     false, false, true,
-                                                     true, false)), (String
-                                                     ((Ascii (false, false,
-                                                     true, false, true, true,
-                                                     true, false)), (String
-                                                     ((Ascii (true, true,
-                                                     false, false, false,
-                                                     false, true, false)),
-                                                     (String ((Ascii (true,
-                                                     true, true, true, false,
-                                                     true, true, false)),
-                                                     (String ((Ascii (false,
-                                                     true, false, false,
-                                                     true, true, true,
-                                                     false)), (String ((Ascii
-                                                     (false, true, false,
-                                                     false, true, true, true,
-                                                     false)), (String ((Ascii
-                                                     (true, false, true,
-                                                     false, false, true,
-                                                     true, false)), (String
-                                                     ((Ascii (true, true,
-                                                     false, false, false,
-                                                     true, true, false)),
-                                                     (String ((Ascii (false,
-                                                     false, true, false,
-                                                     true, true, true,
-                                                     false)), (String ((Ascii
-                                                     (true, false, true,
-                                                     false, false, true,
-                                                     true, false)), (String
-                                                     ((Ascii (false, false,
-                                                     true, false, false,
-                                                     true, true, false)),
-                                                     (String ((Ascii (false,
-                                                     false, true, false,
-                                                     false, false, true,
-                                                     false)), (String ((Ascii
-                                                     (true, false, false,
-                                                     false, false, true,
-                                                     true, false)), (String
-                                                     ((Ascii (false, false,
-                                                     true, false, true, true,
-                                                     true, false)), (String
-                                                     ((Ascii (true, false,
-                                                     false, false, false,
-                                                     true, true, false)),
-                                                     EmptyString)))))))))))))))))))))))))))))))) with
-                                             | [] ->
-                                               alphaField
-                                                 (gets r (String ((Ascii
-                                                   (true, true, false, false,
-                                                   false, false, true,
-                                                   false)), (String ((Ascii
-                                                   (true, true, true, true,
-                                                   false, true, true,
-                                                   false)), (String ((Ascii
-                                                   (false, true, false,
-                                                   false, true, true, true,
-                                                   false)), (String ((Ascii
-                                                   (false, true, false,
-                                                   false, true, true, true,
-                                                   false)), (String ((Ascii
-                                                   (true, false, true, false,
-                                                   false, true, true,
-                                                   false)), (String ((Ascii
-                                                   (true, true, false, false,
-                                                   false, true, true,
-                                                   false)), (String ((Ascii
-                                                   (false, false, true,
-                                                   false, true, true, true,
-                                                   false)), (String ((Ascii
-                                                   (true, false, true, false,
-                                                   false, true, true,
-                                                   false)), (String ((Ascii
-                                                   (false, false, true,
-                                                   false, false, true, true,
-                                                   false)), (String ((Ascii
-                                                   (false, false, true,
-                                                   false, false, false, true,
-                                                   false)), (String ((Ascii
-                                                   (true, false, false,
-                                                   false, false, true, true,
-                                                   false)), (String ((Ascii
-                                                   (false, false, true,
-                                                   false, true, true, true,
-                                                   false)), (String ((Ascii
-                                                   (true, false, false,
-                                                   false, false, true, true,
-                                                   false)),
-                                                   EmptyString)))))))))))))))))))))))))))
-                                                 (S (S (S (S (S (S (S (S (S
-                                                 (S (S (S (S (S (S (S (S (S
-                                                 (S (S (S (S (S (S (S (S (S
-                                                 (S (S
-                                                 O)))))))))))))))))))))))))))))
-                                             | n0 :: l ->
-                                               app
-                                                 (alphaField
-                                                   (gets r (String ((Ascii
-                                                     (true, true, false,
-                                                     false, false, false,
-                                                     true, false)), (String
-                                                     ((Ascii (true, true,
-                                                     true, true, false, true,
-                                                     true, false)), (String
-                                                     ((Ascii (false, true,
-                                                     false, false, true,
-                                                     true, true, false)),
-                                                     (String ((Ascii (false,
-                                                     true, false, false,
-                                                     true, true, true,
-                                                     false)), (String ((Ascii
-                                                     (true, false, true,
-                                                     false, false, true,
-                                                     true, false)), (String
-                                                     ((Ascii (true, true,
-                                                     false, false, false,
-                                                     true, true, false)),
-                                                     (String ((Ascii (false,
-                                                     false, true, false,
-                                                     true, true, true,
-                                                     false)), (String ((Ascii
-                                                     (true, false, true,
-                                                     false, false, true,
-                                                     true, false)), (String
-                                                     ((Ascii (false, false,
-                                                     true, false, false,
-                                                     true, true, false)),
-                                                     (String ((Ascii (false,
-                                                     false, true, false,
-                                                     false, false, true,
-                                                     false)), (String ((Ascii
-                                                     (true, false, false,
-                                                     false, false, true,
-                                                     true, false)), (String
-                                                     ((Ascii (false, false,
-                                                     true, false, true, true,
-                                                     true, false)), (String
-                                                     ((Ascii (true, false,
-                                                     false, false, false,
-                                                     true, true, false)),
-                                                     EmptyString)))))))))))))))))))))))))))
-                                                   (S (S (S (S (S (S (S (S (S
-                                                   (S (S (S (S (S (S (S (S (S
-                                                   (S (S (S (S (S (S (S (S (S
-                                                   (S (S
-                                                   O))))))))))))))))))))))))))))))
-                                                 (alphaField (n0 :: l) (S (S
-                                                   (S (S (S (S O))))))))
-                                     else None
-
-(** val render_seg : recval -> seg -> bytes **)
-
-let render_seg r = function
-| SLit bs -> bs
-| SAlpha (f, w) -> alphaField (gets r f) w
-| SNum (f, w) -> numericField (geti r f) w
-| SStr (f, w) -> stringField (gets r f) w
-| SRaw f -> gets r f
-| SItoa f -> itoa (geti r f)
-| SCustom (n0, _) ->
-  (match render_custom n0 r with
-   | Some bs -> bs
-   | None -> [])
-| SUnknown _ -> []
-
-(** val render : layout -> recval -> bytes **)
-
-let render l r =
-  concat (map (render_seg r) l.l_segs)
-
-(** val units : indexing -> bytes -> bytes list **)
-
-let units ix s =
-  match ix with
-  | IRune -> map snd (chunks s)
-  | IByte -> map (fun b -> b :: []) s
-
-(** val sub0 : bytes list -> nat -> nat -> bytes **)
-
-let sub0 us lo hi =
-  concat (firstn (sub hi lo) (skipn lo us))
-
-(** val two : n -> n -> n **)
-
-let two a b =
-  N.add
-    (N.mul (N.sub a (Npos (XO (XO (XO (XO (XI XH))))))) (Npos (XO (XI (XO
-      XH))))) (N.sub b (Npos (XO (XO (XO (XO (XI XH)))))))
-
-(** val valid_date : bytes -> bool **)
-
-let valid_date s = match s with
-| [] -> false
-| y1 :: l ->
-  (match l with
-   | [] -> false
-   | y2 :: l0 ->
-     (match l0 with
-      | [] -> false
-      | m1 :: l1 ->
-        (match l1 with
-         | [] -> false
-         | m2 :: l2 ->
-           (match l2 with
-            | [] -> false
-            | d1 :: l3 ->
-              (match l3 with
-               | [] -> false
-               | d2 :: l4 ->
-                 (match l4 with
-                  | [] ->
-                    (&&) (forallb is_digit s)
-                      (let yy = two y1 y2 in
-                       let mm = two m1 m2 in
-                       let dd = two d1 d2 in
-                       let year =
-                         if N.ltb yy (Npos (XI (XO (XI (XO (XO (XO XH)))))))
-                         then N.add (Npos (XO (XO (XO (XO (XI (XO (XI (XI (XI
-                                (XI XH))))))))))) yy
-                         else N.add (Npos (XO (XO (XI (XI (XO (XI (XI (XO (XI
-                                (XI XH))))))))))) yy
-                       in
-                       let leap =
-                         (||)
-                           ((&&)
-                             (N.eqb (N.modulo year (Npos (XO (XO XH)))) N0)
-                             (negb
-                               (N.eqb
-                                 (N.modulo year (Npos (XO (XO (XI (XO (XO (XI
-                                   XH)))))))) N0)))
-                           (N.eqb
-                             (N.modulo year (Npos (XO (XO (XO (XO (XI (XO (XO
-                               (XI XH)))))))))) N0)
-                       in
-                       let dim =
-                         if N.eqb mm (Npos (XO XH))
-                         then if leap
-                              then Npos (XI (XO (XI (XI XH))))
-                              else Npos (XO (XO (XI (XI XH))))
-                         else if (||)
-                                   ((||)
-                                     ((||) (N.eqb mm (Npos (XO (XO XH))))
-                                       (N.eqb mm (Npos (XO (XI XH)))))
-                                     (N.eqb mm (Npos (XI (XO (XO XH))))))
-                                   (N.eqb mm (Npos (XI (XI (XO XH)))))
-                              then Npos (XO (XI (XI (XI XH))))
-                              else Npos (XI (XI (XI (XI XH))))
-                       in
-                       (&&)
-                         ((&&)
-                           ((&&) (N.leb (Npos XH) mm)
-                             (N.leb mm (Npos (XO (XO (XI XH))))))
-                           (N.leb (Npos XH) dd)) (N.leb dd dim))
-                  | _ :: _ -> false))))))
-
-(** val valid_time : bytes -> bool **)
-
-let valid_time = function
-| [] -> false
-| h1 :: l ->
-  (match l with
-   | [] -> false
-   | h2 :: l0 ->
-     (match l0 with
-      | [] -> false
-      | m1 :: l1 ->
-        (match l1 with
-         | [] -> false
-         | m2 :: l2 ->
-           (match l2 with
-            | [] ->
-              (&&)
-                ((&&)
-                  ((&&)
-                    ((&&)
-                      ((&&) (N.leb (Npos (XO (XO (XO (XO (XI XH)))))) h1)
-                        (N.leb h1 (Npos (XO (XI (XO (XO (XI XH))))))))
-                      (is_digit h2))
-                    (N.leb (Npos (XO (XO (XO (XO (XI XH)))))) m1))
-                  (N.leb m1 (Npos (XI (XO (XI (XO (XI XH)))))))) (is_digit m2)
-            | _ :: _ -> false))))
-
-(** val validateSettlementDate : bytes -> bytes **)
-
-let validateSettlementDate s =
-  if (||) (bytes_eqb s (spaces (S (S (S O)))))
-       (negb (Nat.eqb (rune_count s) (S (S (S O)))))
-  then spaces (S (S (S O)))
-  else (match atoi_opt s with
-        | Some d ->
-          if (&&) (Z.leb (Zpos XH) d)
-               (Z.leb d (Zpos (XO (XI (XI (XI (XO (XI (XI (XO XH))))))))))
-          then s
-          else spaces (S (S (S O)))
-        | None -> spaces (S (S (S O))))
-
-(** val ten_zeros : bytes **)
-
-let ten_zeros =
-  zeros (S (S (S (S (S (S (S (S (S (S O))))))))))
-
-(** val trimRoutingNumberLeadingZero : bytes -> bytes **)
-
-let trimRoutingNumberLeadingZero s = match s with
-| [] -> trim s
-| n0 :: t ->
-  (match n0 with
-   | N0 -> trim s
-   | Npos p ->
-     (match p with
-      | XO p0 ->
-        (match p0 with
-         | XO p1 ->
-           (match p1 with
-            | XO p2 ->
-              (match p2 with
-               | XO p3 ->
-                 (match p3 with
-                  | XI p4 ->
-                    (match p4 with
-                     | XH ->
-                       if (&&)
-                            (Nat.eqb (rune_count s) (S (S (S (S (S (S (S (S
-                              (S (S O)))))))))))
-                            (negb (bytes_eqb s ten_zeros))
-                       then trim t
-                       else trim s
-                     | _ -> trim s)
-                  | _ -> trim s)
-               | _ -> trim s)
-            | _ -> trim s)
-         | _ -> trim s)
-      | _ -> trim s))
-
-(** val conv_str : string -> bytes -> bytes option **)
-
-let conv_str fn s =
-  if (||)
-       ((||)
-         (eqb1 fn (String ((Ascii (false, false, false, false, true, true,
-           true, false)), (String ((Ascii (true, false, false, false, false,
-           true, true, false)), (String ((Ascii (false, true, false, false,
-           true, true, true, false)), (String ((Ascii (true, true, false,
-           false, true, true, true, false)), (String ((Ascii (true, false,
-           true, false, false, true, true, false)), (String ((Ascii (true,
-           true, false, false, true, false, true, false)), (String ((Ascii
-           (false, false, true, false, true, true, true, false)), (String
-           ((Ascii (false, true, false, false, true, true, true, false)),
-           (String ((Ascii (true, false, false, true, false, true, true,
-           false)), (String ((Ascii (false, true, true, true, false, true,
-           true, false)), (String ((Ascii (true, true, true, false, false,
-           true, true, false)), (String ((Ascii (false, true, true, false,
-           false, false, true, false)), (String ((Ascii (true, false, false,
-           true, false, true, true, false)), (String ((Ascii (true, false,
-           true, false, false, true, true, false)), (String ((Ascii (false,
-           false, true, true, false, true, true, false)), (String ((Ascii
-           (false, false, true, false, false, true, true, false)),
-           EmptyString)))))))))))))))))))))))))))))))))
-         (eqb1 fn (String ((Ascii (true, true, false, false, true, true,
-           true, false)), (String ((Ascii (false, false, true, false, true,
-           true, true, false)), (String ((Ascii (false, true, false, false,
-           true, true, true, false)), (String ((Ascii (true, false, false,
-           true, false, true, true, false)), (String ((Ascii (false, true,
-           true, true, false, true, true, false)), (String ((Ascii (true,
-           true, true, false, false, true, true, false)), (String ((Ascii
-           (true, true, false, false, true, true, true, false)), (String
-           ((Ascii (false, true, true, true, false, true, false, false)),
-           (String ((Ascii (false, false, true, false, true, false, true,
-           false)), (String ((Ascii (false, true, false, false, true, true,
-           true, false)), (String ((Ascii (true, false, false, true, false,
-           true, true, false)), (String ((Ascii (true, false, true, true,
-           false, true, true, false)), (String ((Ascii (true, true, false,
-           false, true, false, true, false)), (String ((Ascii (false, false,
-           false, false, true, true, true, false)), (String ((Ascii (true,
-           false, false, false, false, true, true, false)), (String ((Ascii
-           (true, true, false, false, false, true, true, false)), (String
-           ((Ascii (true, false, true, false, false, true, true, false)),
-           EmptyString))))))))))))))))))))))))))))))))))))
-       (eqb1 fn (String ((Ascii (false, false, false, false, true, true,
-         true, false)), (String ((Ascii (true, false, false, false, false,
-         true, true, false)), (String ((Ascii (false, true, false, false,
-         true, true, true, false)), (String ((Ascii (true, true, false,
-         false, true, true, true, false)), (String ((Ascii (true, false,
-         true, false, false, true, true, false)), (String ((Ascii (true,
-         true, false, false, true, false, true, false)), (String ((Ascii
-         (false, false, true, false, true, true, true, false)), (String
-         ((Ascii (false, true, false, false, true, true, true, false)),
-         (String ((Ascii (true, false, false, true, false, true, true,
-         false)), (String ((Ascii (false, true, true, true, false, true,
-         true, false)), (String ((Ascii (true, true, true, false, false,
-         true, true, false)), (String ((Ascii (false, true, true, false,
-         false, false, true, false)), (String ((Ascii (true, false, false,
-         true, false, true, true, false)), (String ((Ascii (true, false,
-         true, false, false, true, true, false)), (String ((Ascii (false,
-         false, true, true, false, true, true, false)), (String ((Ascii
-         (false, false, true, false, false, true, true, false)), (String
-         ((Ascii (true, true, true, false, true, false, true, false)),
-         (String ((Ascii (true, false, false, true, false, true, true,
-         false)), (String ((Ascii (false, false, true, false, true, true,
-         true, false)), (String ((Ascii (false, false, false, true, false,
-         true, true, false)), (String ((Ascii (true, true, true, true, false,
-         false, true, false)), (String ((Ascii (false, false, false, false,
-         true, true, true, false)), (String ((Ascii (false, false, true,
-         false, true, true, true, false)), (String ((Ascii (true, true,
-         false, false, true, true, true, false)),
-         EmptyString)))))))))))))))))))))))))))))))))))))))))))))))))
-  then Some (trim s)
-  else if eqb1 fn (String ((Ascii (false, false, true, false, true, true,
-            true, false)), (String ((Ascii (false, true, false, false, true,
-            true, true, false)), (String ((Ascii (true, false, false, true,
-            false, true, true, false)), (String ((Ascii (true, false, true,
-            true, false, true, true, false)), (String ((Ascii (false, true,
-            false, false, true, false, true, false)), (String ((Ascii (true,
-            true, true, true, false, true, true, false)), (String ((Ascii
-            (true, false, true, false, true, true, true, false)), (String
-            ((Ascii (false, false, true, false, true, true, true, false)),
-            (String ((Ascii (true, false, false, true, false, true, true,
-            false)), (String ((Ascii (false, true, true, true, false, true,
-            true, false)), (String ((Ascii (true, true, true, false, false,
-            true, true, false)), (String ((Ascii (false, true, true, true,
-            false, false, true, false)), (String ((Ascii (true, false, true,
-            false, true, true, true, false)), (String ((Ascii (true, false,
-            true, true, false, true, true, false)), (String ((Ascii (false,
-            true, false, false, false, true, true, false)), (String ((Ascii
-            (true, false, true, false, false, true, true, false)), (String
-            ((Ascii (false, true, false, false, true, true, true, false)),
-            (String ((Ascii (false, false, true, true, false, false, true,
-            false)), (String ((Ascii (true, false, true, false, false, true,
-            true, false)), (String ((Ascii (true, false, false, false, false,
-            true, true, false)), (String ((Ascii (false, false, true, false,
-            false, true, true, false)), (String ((Ascii (true, false, false,
-            true, false, true, true, false)), (String ((Ascii (false, true,
-            true, true, false, true, true, false)), (String ((Ascii (true,
-            true, true, false, false, true, true, false)), (String ((Ascii
-            (false, true, false, true, true, false, true, false)), (String
-            ((Ascii (true, false, true, false, false, true, true, false)),
-            (String ((Ascii (false, true, false, false, true, true, true,
-            false)), (String ((Ascii (true, true, true, true, false, true,
-            true, false)),
-            EmptyString))))))))))))))))))))))))))))))))))))))))))))))))))))))))
-       then Some (trimRoutingNumberLeadingZero s)
-       else if eqb1 fn (String ((Ascii (false, true, true, false, true, true,
-                 true, false)), (String ((Ascii (true, false, false, false,
-                 false, true, true, false)), (String ((Ascii (false, false,
-                 true, true, false, true, true, false)), (String ((Ascii
-                 (true, false, false, true, false, true, true, false)),
-                 (String ((Ascii (false, false, true, false, false, true,
-                 true, false)), (String ((Ascii (true, false, false, false,
-                 false, true, true, false)), (String ((Ascii (false, false,
-                 true, false, true, true, true, false)), (String ((Ascii
-                 (true, false, true, false, false, true, true, false)),
-                 (String ((Ascii (true, true, false, false, true, false,
-                 true, false)), (String ((Ascii (true, false, false, true,
-                 false, true, true, false)), (String ((Ascii (true, false,
-                 true, true, false, true, true, false)), (String ((Ascii
-                 (false, false, false, false, true, true, true, false)),
-                 (String ((Ascii (false, false, true, true, false, true,
-                 true, false)), (String ((Ascii (true, false, true, false,
-                 false, true, true, false)), (String ((Ascii (false, false,
-                 true, false, false, false, true, false)), (String ((Ascii
-                 (true, false, false, false, false, true, true, false)),
-                 (String ((Ascii (false, false, true, false, true, true,
-                 true, false)), (String ((Ascii (true, false, true, false,
-                 false, true, true, false)),
-                 EmptyString))))))))))))))))))))))))))))))))))))
-            then Some (if valid_date s then s else [])
-            else if eqb1 fn (String ((Ascii (false, true, true, false, true,
-                      true, true, false)), (String ((Ascii (true, false,
-                      false, false, false, true, true, false)), (String
-                      ((Ascii (false, false, true, true, false, true, true,
-                      false)), (String ((Ascii (true, false, false, true,
-                      false, true, true, false)), (String ((Ascii (false,
-                      false, true, false, false, true, true, false)), (String
-                      ((Ascii (true, false, false, false, false, true, true,
-                      false)), (String ((Ascii (false, false, true, false,
-                      true, true, true, false)), (String ((Ascii (true,
-                      false, true, false, false, true, true, false)), (String
-                      ((Ascii (true, true, false, false, true, false, true,
-                      false)), (String ((Ascii (true, false, false, true,
-                      false, true, true, false)), (String ((Ascii (true,
-                      false, true, true, false, true, true, false)), (String
-                      ((Ascii (false, false, false, false, true, true, true,
-                      false)), (String ((Ascii (false, false, true, true,
-                      false, true, true, false)), (String ((Ascii (true,
-                      false, true, false, false, true, true, false)), (String
-                      ((Ascii (false, false, true, false, true, false, true,
-                      false)), (String ((Ascii (true, false, false, true,
-                      false, true, true, false)), (String ((Ascii (true,
-                      false, true, true, false, true, true, false)), (String
-                      ((Ascii (true, false, true, false, false, true, true,
-                      false)), EmptyString))))))))))))))))))))))))))))))))))))
-                 then Some (if valid_time s then s else [])
-                 else if eqb1 fn (String ((Ascii (false, true, true, false,
-                           true, true, true, false)), (String ((Ascii (true,
-                           false, false, false, false, true, true, false)),
-                           (String ((Ascii (false, false, true, true, false,
-                           true, true, false)), (String ((Ascii (true, false,
-                           false, true, false, true, true, false)), (String
-                           ((Ascii (false, false, true, false, false, true,
-                           true, false)), (String ((Ascii (true, false,
-                           false, false, false, true, true, false)), (String
-                           ((Ascii (false, false, true, false, true, true,
-                           true, false)), (String ((Ascii (true, false, true,
-                           false, false, true, true, false)), (String ((Ascii
-                           (true, true, false, false, true, false, true,
-                           false)), (String ((Ascii (true, false, true,
-                           false, false, true, true, false)), (String ((Ascii
-                           (false, false, true, false, true, true, true,
-                           false)), (String ((Ascii (false, false, true,
-                           false, true, true, true, false)), (String ((Ascii
-                           (false, false, true, true, false, true, true,
-                           false)), (String ((Ascii (true, false, true,
-                           false, false, true, true, false)), (String ((Ascii
-                           (true, false, true, true, false, true, true,
-                           false)), (String ((Ascii (true, false, true,
-                           false, false, true, true, false)), (String ((Ascii
-                           (false, true, true, true, false, true, true,
-                           false)), (String ((Ascii (false, false, true,
-                           false, true, true, true, false)), (String ((Ascii
-                           (false, false, true, false, false, false, true,
-                           false)), (String ((Ascii (true, false, false,
-                           false, false, true, true, false)), (String ((Ascii
-                           (false, false, true, false, true, true, true,
-                           false)), (String ((Ascii (true, false, true,
-                           false, false, true, true, false)),
-                           EmptyString))))))))))))))))))))))))))))))))))))))))))))
-                      then Some (validateSettlementDate s)
-                      else None
-
-(** val conv_chain : string list -> bytes -> bytes option **)
-
-let rec conv_chain chain s =
-  match chain with
-  | [] -> Some s
-  | fn :: rest ->
-    (match conv_chain rest s with
-     | Some s' -> conv_str fn s'
-     | None -> None)
-
-(** val conv_value : string list -> bytes -> value option **)
-
-let conv_value chain s =
-  match chain with
-  | [] -> Some (VS s)
-  | fn :: rest ->
-    if eqb1 fn (String ((Ascii (false, false, false, false, true, true, true,
-         false)), (String ((Ascii (true, false, false, false, false, true,
-         true, false)), (String ((Ascii (false, true, false, false, true,
-         true, true, false)), (String ((Ascii (true, true, false, false,
-         true, true, true, false)), (String ((Ascii (true, false, true,
-         false, false, true, true, false)), (String ((Ascii (false, true,
-         true, true, false, false, true, false)), (String ((Ascii (true,
-         false, true, false, true, true, true, false)), (String ((Ascii
-         (true, false, true, true, false, true, true, false)), (String
-         ((Ascii (false, true, true, false, false, false, true, false)),
-         (String ((Ascii (true, false, false, true, false, true, true,
-         false)), (String ((Ascii (true, false, true, false, false, true,
-         true, false)), (String ((Ascii (false, false, true, true, false,
-         true, true, false)), (String ((Ascii (false, false, true, false,
-         false, true, true, false)), EmptyString))))))))))))))))))))))))))
-    then (match conv_chain rest s with
-          | Some s' -> Some (VI (parseNumField s'))
-          | None -> None)
-    else (match conv_chain chain s with
-          | Some s' -> Some (VS s')
-          | None -> None)
-
-(** val parse_cut : bytes list -> cut -> (string * value) list **)
-
-let parse_cut us c =
-  match c.c_const with
-  | Some bs -> (c.c_field, (VS bs)) :: []
-  | None ->
-    if eqb1 c.c_field EmptyString
-    then []
-    else (match conv_value c.c_conv (sub0 us c.c_lo c.c_hi) with
-          | Some v -> (c.c_field, v) :: []
-          | None -> [])
-
-(** val parse : layout -> bytes -> recval **)
-
-let parse l line =
-  if Nat.eqb (rune_count line) (S (S (S (S (S (S (S (S (S (S (S (S (S (S (S
-       (S (S (S (S (S (S (S (S (S (S (S (S (S (S (S (S (S (S (S (S (S (S (S
-       (S (S (S (S (S (S (S (S (S (S (S (S (S (S (S (S (S (S (S (S (S (S (S
-       (S (S (S (S (S (S (S (S (S (S (S (S (S (S (S (S (S (S (S (S (S (S (S
-       (S (S (S (S (S (S (S (S (S (S
-       O))))))))))))))))))))))))))))))))))))))))))))))))))))))))))))))))))))))))))))))))))))))))))))))
-  then flat_map (parse_cut (units l.l_ix line)) l.l_cuts
-  else []
-
-(** val overlay : recval -> recval -> recval **)
-
-let overlay new0 old =
-  app (rev new0) old
-
-(** val l_ADVBatchControl : layout **)
-
-let l_ADVBatchControl =
-  { l_name = (String ((Ascii (true, false, false, false, false, false, true,
-    false)), (String ((Ascii (false, false, true, false, false, false, true,
-    false)), (String ((Ascii (false, true, true, false, true, false, true,
-    false)), (String ((Ascii (false, true, false, false, false, false, true,
-    false)), (String ((Ascii (true, false, false, false, false, true, true,
-    false)), (String ((Ascii (false, false, true, false, true, true, true,
-    false)), (String ((Ascii (true, true, false, false, false, true, true,
-    false)), (String ((Ascii (false, false, false, true, false, true, true,
-    false)), (String ((Ascii (true, true, false, false, false, false, true,
-    false)), (String ((Ascii (true, true, true, true, false, true, true,
-    false)), (String ((Ascii (false, true, true, true, false, true, true,
-    false)), (String ((Ascii (false, false, true, false, true, true, true,
-    false)), (String ((Ascii (false, true, false, false, true, true, true,
-    false)), (String ((Ascii (true, true, true, true, false, true, true,
-    false)), (String ((Ascii (false, false, true, true, false, true, true,
-    false)), EmptyString)))))))))))))))))))))))))))))); l_ix = IRune;
-    l_segs = ((SLit ((Npos (XO (XO (XO (XI (XI XH)))))) :: [])) :: ((SItoa
-    (String ((Ascii (true, true, false, false, true, false, true, false)),
-    (String ((Ascii (true, false, true, false, false, true, true, false)),
-    (String ((Ascii (false, true, false, false, true, true, true, false)),
-    (String ((Ascii (false, true, true, false, true, true, true, false)),
-    (String ((Ascii (true, false, false, true, false, true, true, false)),
-    (String ((Ascii (true, true, false, false, false, true, true, false)),
-    (String ((Ascii (true, false, true, false, false, true, true, false)),
-    (String ((Ascii (true, true, false, false, false, false, true, false)),
-    (String ((Ascii (false, false, true, true, false, true, true, false)),
-    (String ((Ascii (true, false, false, false, false, true, true, false)),
-    (String ((Ascii (true, true, false, false, true, true, true, false)),
-    (String ((Ascii (true, true, false, false, true, true, true, false)),
-    (String ((Ascii (true, true, false, false, false, false, true, false)),
-    (String ((Ascii (true, true, true, true, false, true, true, false)),
-    (String ((Ascii (false, false, true, false, false, true, true, false)),
-    (String ((Ascii (true, false, true, false, false, true, true, false)),
-    EmptyString))))))))))))))))))))))))))))))))) :: ((SNum ((String ((Ascii
-    (true, false, true, false, false, false, true, false)), (String ((Ascii
-    (false, true, true, true, false, true, true, false)), (String ((Ascii
-    (false, false, true, false, true, true, true, false)), (String ((Ascii
-    (false, true, false, false, true, true, true, false)), (String ((Ascii
-    (true, false, false, true, true, true, true, false)), (String ((Ascii
-    (true, false, false, false, false, false, true, false)), (String ((Ascii
-    (false, false, true, false, false, true, true, false)), (String ((Ascii
-    (false, false, true, false, false, true, true, false)), (String ((Ascii
-    (true, false, true, false, false, true, true, false)), (String ((Ascii
-    (false, true, true, true, false, true, true, false)), (String ((Ascii
-    (false, false, true, false, false, true, true, false)), (String ((Ascii
-    (true, false, false, false, false, true, true, false)), (String ((Ascii
-    (true, true, false, false, false, false, true, false)), (String ((Ascii
-    (true, true, true, true, false, true, true, false)), (String ((Ascii
-    (true, false, true, false, true, true, true, false)), (String ((Ascii
-    (false, true, true, true, false, true, true, false)), (String ((Ascii
-    (false, false, true, false, true, true, true, false)),
-    EmptyString)))))))))))))))))))))))))))))))))), (S (S (S (S (S (S
-    O)))))))) :: ((SNum ((String ((Ascii (true, false, true, false, false,
-    false, true, false)), (String ((Ascii (false, true, true, true, false,
-    true, true, false)), (String ((Ascii (false, false, true, false, true,
-    true, true, false)), (String ((Ascii (false, true, false, false, true,
-    true, true, false)), (String ((Ascii (true, false, false, true, true,
-    true, true, false)), (String ((Ascii (false, false, false, true, false,
-    false, true, false)), (String ((Ascii (true, false, false, false, false,
-    true, true, false)), (String ((Ascii (true, true, false, false, true,
-    true, true, false)), (String ((Ascii (false, false, false, true, false,
-    true, true, false)), EmptyString)))))))))))))))))), (S (S (S (S (S (S (S
-    (S (S (S O)))))))))))) :: ((SNum ((String ((Ascii (false, false, true,
-    false, true, false, true, false)), (String ((Ascii (true, true, true,
-    true, false, true, true, false)), (String ((Ascii (false, false, true,
-    false, true, true, true, false)), (String ((Ascii (true, false, false,
-    false, false, true, true, false)), (String ((Ascii (false, false, true,
-    true, false, true, true, false)), (String ((Ascii (false, false, true,
-    false, false, false, true, false)), (String ((Ascii (true, false, true,
-    false, false, true, true, false)), (String ((Ascii (false, true, false,
-    false, false, true, true, false)), (String ((Ascii (true, false, false,
-    true, false, true, true, false)), (String ((Ascii (false, false, true,
-    false, true, true, true, false)), (String ((Ascii (true, false, true,
-    false, false, false, true, false)), (String ((Ascii (false, true, true,
-    true, false, true, true, false)), (String ((Ascii (false, false, true,
-    false, true, true, true, false)), (String ((Ascii (false, true, false,
-    false, true, true, true, false)), (String ((Ascii (true, false, false,
-    true, true, true, true, false)), (String ((Ascii (false, false, true,
-    false, false, false, true, false)), (String ((Ascii (true, true, true,
-    true, false, true, true, false)), (String ((Ascii (false, false, true,
-    true, false, true, true, false)), (String ((Ascii (false, false, true,
-    true, false, true, true, false)), (String ((Ascii (true, false, false,
-    false, false, true, true, false)), (String ((Ascii (false, true, false,
-    false, true, true, true, false)), (String ((Ascii (true, false, false,
-    false, false, false, true, false)), (String ((Ascii (true, false, true,
-    true, false, true, true, false)), (String ((Ascii (true, true, true,
-    true, false, true, true, false)), (String ((Ascii (true, false, true,
-    false, true, true, true, false)), (String ((Ascii (false, true, true,
-    true, false, true, true, false)), (String ((Ascii (false, false, true,
-    false, true, true, true, false)),
-    EmptyString)))))))))))))))))))))))))))))))))))))))))))))))))))))), (S (S
-    (S (S (S (S (S (S (S (S (S (S (S (S (S (S (S (S (S (S
-    O)))))))))))))))))))))) :: ((SNum ((String ((Ascii (false, false, true,
-    false, true, false, true, false)), (String ((Ascii (true, true, true,
-    true, false, true, true, false)), (String ((Ascii (false, false, true,
-    false, true, true, true, false)), (String ((Ascii (true, false, false,
-    false, false, true, true, false)), (String ((Ascii (false, false, true,
-    true, false, true, true, false)), (String ((Ascii (true, true, false,
-    false, false, false, true, false)), (String ((Ascii (false, true, false,
-    false, true, true, true, false)), (String ((Ascii (true, false, true,
-    false, false, true, true, false)), (String ((Ascii (false, false, true,
-    false, false, true, true, false)), (String ((Ascii (true, false, false,
-    true, false, true, true, false)), (String ((Ascii (false, false, true,
-    false, true, true, true, false)), (String ((Ascii (true, false, true,
-    false, false, false, true, false)), (String ((Ascii (false, true, true,
-    true, false, true, true, false)), (String ((Ascii (false, false, true,
-    false, true, true, true, false)), (String ((Ascii (false, true, false,
-    false, true, true, true, false)), (String ((Ascii (true, false, false,
-    true, true, true, true, false)), (String ((Ascii (false, false, true,
-    false, false, false, true, false)), (String ((Ascii (true, true, true,
-    true, false, true, true, false)), (String ((Ascii (false, false, true,
-    true, false, true, true, false)), (String ((Ascii (false, false, true,
-    true, false, true, true, false)), (String ((Ascii (true, false, false,
-    false, false, true, true, false)), (String ((Ascii (false, true, false,
-    false, true, true, true, false)), (String ((Ascii (true, false, false,
-    false, false, false, true, false)), (String ((Ascii (true, false, true,
-    true, false, true, true, false)), (String ((Ascii (true, true, true,
-    true, false, true, true, false)), (String ((Ascii (true, false, true,
-    false, true, true, true, false)), (String ((Ascii (false, true, true,
-    true, false, true, true, false)), (String ((Ascii (false, false, true,
-    false, true, true, true, false)),
-    EmptyString)))))))))))))))))))))))))))))))))))))))))))))))))))))))), (S
-    (S (S (S (S (S (S (S (S (S (S (S (S (S (S (S (S (S (S (S
-    O)))))))))))))))))))))) :: ((SAlpha ((String ((Ascii (true, false, false,
-    false, false, false, true, false)), (String ((Ascii (true, true, false,
-    false, false, false, true, false)), (String ((Ascii (false, false, false,
-    true, false, false, true, false)), (String ((Ascii (true, true, true,
-    true, false, false, true, false)), (String ((Ascii (false, false, false,
-    false, true, true, true, false)), (String ((Ascii (true, false, true,
-    false, false, true, true, false)), (String ((Ascii (false, true, false,
-    false, true, true, true, false)), (String ((Ascii (true, false, false,
-    false, false, true, true, false)), (String ((Ascii (false, false, true,
-    false, true, true, true, false)), (String ((Ascii (true, true, true,
-    true, false, true, true, false)), (String ((Ascii (false, true, false,
-    false, true, true, true, false)), (String ((Ascii (false, false, true,
-    false, false, false, true, false)), (String ((Ascii (true, false, false,
-    false, false, true, true, false)), (String ((Ascii (false, false, true,
-    false, true, true, true, false)), (String ((Ascii (true, false, false,
-    false, false, true, true, false)),
-    EmptyString)))))))))))))))))))))))))))))), (S (S (S (S (S (S (S (S (S (S
-    (S (S (S (S (S (S (S (S (S O))))))))))))))))))))) :: ((SStr ((String
-    ((Ascii (true, true, true, true, false, false, true, false)), (String
-    ((Ascii (false, false, true, false, false, false, true, false)), (String
-    ((Ascii (false, true, true, false, false, false, true, false)), (String
-    ((Ascii (true, false, false, true, false, false, true, false)), (String
-    ((Ascii (true, false, false, true, false, false, true, false)), (String
-    ((Ascii (false, false, true, false, false, true, true, false)), (String
-    ((Ascii (true, false, true, false, false, true, true, false)), (String
-    ((Ascii (false, true, true, true, false, true, true, false)), (String
-    ((Ascii (false, false, true, false, true, true, true, false)), (String
-    ((Ascii (true, false, false, true, false, true, true, false)), (String
-    ((Ascii (false, true, true, false, false, true, true, false)), (String
-    ((Ascii (true, false, false, true, false, true, true, false)), (String
-    ((Ascii (true, true, false, false, false, true, true, false)), (String
-    ((Ascii (true, false, false, false, false, true, true, false)), (String
-    ((Ascii (false, false, true, false, true, true, true, false)), (String
-    ((Ascii (true, false, false, true, false, true, true, false)), (String
-    ((Ascii (true, true, true, true, false, true, true, false)), (String
-    ((Ascii (false, true, true, true, false, true, true, false)),
-    EmptyString)))))))))))))))))))))))))))))))))))), (S (S (S (S (S (S (S (S
-    O)))))))))) :: ((SNum ((String ((Ascii (false, true, false, false, false,
-    false, true, false)), (String ((Ascii (true, false, false, false, false,
-    true, true, false)), (String ((Ascii (false, false, true, false, true,
-    true, true, false)), (String ((Ascii (true, true, false, false, false,
-    true, true, false)), (String ((Ascii (false, false, false, true, false,
-    true, true, false)), (String ((Ascii (false, true, true, true, false,
-    false, true, false)), (String ((Ascii (true, false, true, false, true,
-    true, true, false)), (String ((Ascii (true, false, true, true, false,
-    true, true, false)), (String ((Ascii (false, true, false, false, false,
-    true, true, false)), (String ((Ascii (true, false, true, false, false,
-    true, true, false)), (String ((Ascii (false, true, false, false, true,
-    true, true, false)), EmptyString)))))))))))))))))))))), (S (S (S (S (S (S
-    (S O))))))))) :: []))))))))); l_cuts =
-    ((mkcut O (S O) EmptyString []) :: ((mkcut (S O) (S (S (S (S O))))
-                                          (String ((Ascii (true, true, false,
-                                          false, true, false, true, false)),
-                                          (String ((Ascii (true, false, true,
-                                          false, false, true, true, false)),
-                                          (String ((Ascii (false, true,
-                                          false, false, true, true, true,
-                                          false)), (String ((Ascii (false,
-                                          true, true, false, true, true,
-                                          true, false)), (String ((Ascii
-                                          (true, false, false, true, false,
-                                          true, true, false)), (String
-                                          ((Ascii (true, true, false, false,
-                                          false, true, true, false)), (String
-                                          ((Ascii (true, false, true, false,
-                                          false, true, true, false)), (String
-                                          ((Ascii (true, true, false, false,
-                                          false, false, true, false)),
-                                          (String ((Ascii (false, false,
-                                          true, true, false, true, true,
-                                          false)), (String ((Ascii (true,
-                                          false, false, false, false, true,
-                                          true, false)), (String ((Ascii
-                                          (true, true, false, false, true,
-                                          true, true, false)), (String
-                                          ((Ascii (true, true, false, false,
-                                          true, true, true, false)), (String
-                                          ((Ascii (true, true, false, false,
-                                          false, false, true, false)),
-                                          (String ((Ascii (true, true, true,
-                                          true, false, true, true, false)),
-                                          (String ((Ascii (false, false,
-                                          true, false, false, true, true,
-                                          false)), (String ((Ascii (true,
-                                          false, true, false, false, true,
-                                          true, false)),
-                                          EmptyString))))))))))))))))))))))))))))))))
-                                          ((String ((Ascii (false, false,
-                                          false, false, true, true, true,
-                                          false)), (String ((Ascii (true,
-                                          false, false, false, false, true,
-                                          true, false)), (String ((Ascii
-                                          (false, true, false, false, true,
-                                          true, true, false)), (String
-                                          ((Ascii (true, true, false, false,
-                                          true, true, true, false)), (String
-                                          ((Ascii (true, false, true, false,
-                                          false, true, true, false)), (String
-                                          ((Ascii (false, true, true, true,
-                                          false, false, true, false)),
-                                          (String ((Ascii (true, false, true,
-                                          false, true, true, true, false)),
-                                          (String ((Ascii (true, false, true,
-                                          true, false, true, true, false)),
-                                          (String ((Ascii (false, true, true,
-                                          false, false, false, true, false)),
-                                          (String ((Ascii (true, false,
-                                          false, true, false, true, true,
-                                          false)), (String ((Ascii (true,
-                                          false, true, false, false, true,
-                                          true, false)), (String ((Ascii
-                                          (false, false, true, true, false,
-                                          true, true, false)), (String
-                                          ((Ascii (false, false, true, false,
-                                          false, true, true, false)),
-                                          EmptyString)))))))))))))))))))))))))) :: [])) :: (
-    (mkcut (S (S (S (S O)))) (S (S (S (S (S (S (S (S (S (S O))))))))))
-      (String ((Ascii (true, false, true, false, false, false, true, false)),
-      (String ((Ascii (false, true, true, true, false, true, true, false)),
-      (String ((Ascii (false, false, true, false, true, true, true, false)),
-      (String ((Ascii (false, true, false, false, true, true, true, false)),
-      (String ((Ascii (true, false, false, true, true, true, true, false)),
-      (String ((Ascii (true, false, false, false, false, false, true,
-      false)), (String ((Ascii (false, false, true, false, false, true, true,
-      false)), (String ((Ascii (false, false, true, false, false, true, true,
-      false)), (String ((Ascii (true, false, true, false, false, true, true,
-      false)), (String ((Ascii (false, true, true, true, false, true, true,
-      false)), (String ((Ascii (false, false, true, false, false, true, true,
-      false)), (String ((Ascii (true, false, false, false, false, true, true,
-      false)), (String ((Ascii (true, true, false, false, false, false, true,
-      false)), (String ((Ascii (true, true, true, true, false, true, true,
-      false)), (String ((Ascii (true, false, true, false, true, true, true,
-      false)), (String ((Ascii (false, true, true, true, false, true, true,
-      false)), (String ((Ascii (false, false, true, false, true, true, true,
-      false)), EmptyString)))))))))))))))))))))))))))))))))) ((String ((Ascii
-      (false, false, false, false, true, true, true, false)), (String ((Ascii
-      (true, false, false, false, false, true, true, false)), (String ((Ascii
-      (false, true, false, false, true, true, true, false)), (String ((Ascii
-      (true, true, false, false, true, true, true, false)), (String ((Ascii
-      (true, false, true, false, false, true, true, false)), (String ((Ascii
-      (false, true, true, true, false, false, true, false)), (String ((Ascii
-      (true, false, true, false, true, true, true, false)), (String ((Ascii
-      (true, false, true, true, false, true, true, false)), (String ((Ascii
-      (false, true, true, false, false, false, true, false)), (String ((Ascii
-      (true, false, false, true, false, true, true, false)), (String ((Ascii
-      (true, false, true, false, false, true, true, false)), (String ((Ascii
-      (false, false, true, true, false, true, true, false)), (String ((Ascii
-      (false, false, true, false, false, true, true, false)),
-      EmptyString)))))))))))))))))))))))))) :: [])) :: ((mkcut (S (S (S (S (S
-                                                          (S (S (S (S (S
-                                                          O)))))))))) (S (S
-                                                          (S (S (S (S (S (S
-                                                          (S (S (S (S (S (S
-                                                          (S (S (S (S (S (S
-                                                          O))))))))))))))))))))
-                                                          (String ((Ascii
-                                                          (true, false, true,
-                                                          false, false,
-                                                          false, true,
-                                                          false)), (String
-                                                          ((Ascii (false,
-                                                          true, true, true,
-                                                          false, true, true,
-                                                          false)), (String
-                                                          ((Ascii (false,
-                                                          false, true, false,
-                                                          true, true, true,
-                                                          false)), (String
-                                                          ((Ascii (false,
-                                                          true, false, false,
-                                                          true, true, true,
-                                                          false)), (String
-                                                          ((Ascii (true,
-                                                          false, false, true,
-                                                          true, true, true,
-                                                          false)), (String
-                                                          ((Ascii (false,
-                                                          false, false, true,
-                                                          false, false, true,
-                                                          false)), (String
-                                                          ((Ascii (true,
-                                                          false, false,
-                                                          false, false, true,
-                                                          true, false)),
-                                                          (String ((Ascii
-                                                          (true, true, false,
-                                                          false, true, true,
-                                                          true, false)),
-                                                          (String ((Ascii
-                                                          (false, false,
-                                                          false, true, false,
-                                                          true, true,
-                                                          false)),
-                                                          EmptyString))))))))))))))))))
-                                                          ((String ((Ascii
-                                                          (false, false,
-                                                          false, false, true,
-                                                          true, true,
-                                                          false)), (String
-                                                          ((Ascii (true,
-                                                          false, false,
-                                                          false, false, true,
-                                                          true, false)),
-                                                          (String ((Ascii
-                                                          (false, true,
-                                                          false, false, true,
-                                                          true, true,
-                                                          false)), (String
-                                                          ((Ascii (true,
-                                                          true, false, false,
-                                                          true, true, true,
-                                                          false)), (String
-                                                          ((Ascii (true,
-                                                          false, true, false,
-                                                          false, true, true,
-                                                          false)), (String
-                                                          ((Ascii (false,
-                                                          true, true, true,
-                                                          false, false, true,
-                                                          false)), (String
-                                                          ((Ascii (true,
-                                                          false, true, false,
-                                                          true, true, true,
-                                                          false)), (String
-                                                          ((Ascii (true,
-                                                          false, true, true,
-                                                          false, true, true,
-                                                          false)), (String
-                                                          ((Ascii (false,
-                                                          true, true, false,
-                                                          false, false, true,
-                                                          false)), (String
-                                                          ((Ascii (true,
-                                                          false, false, true,
-                                                          false, true, true,
-                                                          false)), (String
-                                                          ((Ascii (true,
-                                                          false, true, false,
-                                                          false, true, true,
-                                                          false)), (String
-                                                          ((Ascii (false,
-                                                          false, true, true,
-                                                          false, true, true,
-                                                          false)), (String
-                                                          ((Ascii (false,
-                                                          false, true, false,
-                                                          false, true, true,
-                                                          false)),
-                                                          EmptyString)))))))))))))))))))))))))) :: [])) :: (
-    (mkcut (S (S (S (S (S (S (S (S (S (S (S (S (S (S (S (S (S (S (S (S
-      O)))))))))))))))))))) (S (S (S (S (S (S (S (S (S (S (S (S (S (S (S (S
-      (S (S (S (S (S (S (S (S (S (S (S (S (S (S (S (S (S (S (S (S (S (S (S (S
-      O)))))))))))))))))))))))))))))))))))))))) (String ((Ascii (false,
-      false, true, false, true, false, true, false)), (String ((Ascii (true,
-      true, true, true, false, true, true, false)), (String ((Ascii (false,
-      false, true, false, true, true, true, false)), (String ((Ascii (true,
-      false, false, false, false, true, true, false)), (String ((Ascii
-      (false, false, true, true, false, true, true, false)), (String ((Ascii
-      (false, false, true, false, false, false, true, false)), (String
-      ((Ascii (true, false, true, false, false, true, true, false)), (String
-      ((Ascii (false, true, false, false, false, true, true, false)), (String
-      ((Ascii (true, false, false, true, false, true, true, false)), (String
-      ((Ascii (false, false, true, false, true, true, true, false)), (String
-      ((Ascii (true, false, true, false, false, false, true, false)), (String
-      ((Ascii (false, true, true, true, false, true, true, false)), (String
-      ((Ascii (false, false, true, false, true, true, true, false)), (String
-      ((Ascii (false, true, false, false, true, true, true, false)), (String
-      ((Ascii (true, false, false, true, true, true, true, false)), (String
-      ((Ascii (false, false, true, false, false, false, true, false)),
-      (String ((Ascii (true, true, true, true, false, true, true, false)),
-      (String ((Ascii (false, false, true, true, false, true, true, false)),
-      (String ((Ascii (false, false, true, true, false, true, true, false)),
-      (String ((Ascii (true, false, false, false, false, true, true, false)),
-      (String ((Ascii (false, true, false, false, true, true, true, false)),
-      (String ((Ascii (true, false, false, false, false, false, true,
-      false)), (String ((Ascii (true, false, true, true, false, true, true,
-      false)), (String ((Ascii (true, true, true, true, false, true, true,
-      false)), (String ((Ascii (true, false, true, false, true, true, true,
-      false)), (String ((Ascii (false, true, true, true, false, true, true,
-      false)), (String ((Ascii (false, false, true, false, true, true, true,
-      false)),
-      EmptyString))))))))))))))))))))))))))))))))))))))))))))))))))))))
-      ((String ((Ascii (false, false, false, false, true, true, true,
-      false)), (String ((Ascii (true, false, false, false, false, true, true,
-      false)), (String ((Ascii (false, true, false, false, true, true, true,
-      false)), (String ((Ascii (true, true, false, false, true, true, true,
-      false)), (String ((Ascii (true, false, true, false, false, true, true,
-      false)), (String ((Ascii (false, true, true, true, false, false, true,
-      false)), (String ((Ascii (true, false, true, false, true, true, true,
-      false)), (String ((Ascii (true, false, true, true, false, true, true,
-      false)), (String ((Ascii (false, true, true, false, false, false, true,
-      false)), (String ((Ascii (true, false, false, true, false, true, true,
-      false)), (String ((Ascii (true, false, true, false, false, true, true,
-      false)), (String ((Ascii (false, false, true, true, false, true, true,
-      false)), (String ((Ascii (false, false, true, false, false, true, true,
-      false)), EmptyString)))))))))))))))))))))))))) :: [])) :: ((mkcut (S (S
-                                                                   (S (S (S
-                                                                   (S (S (S
-                                                                   (S (S (S
-                                                                   (S (S (S
-                                                                   (S (S (S
-                                                                   (S (S (S
-                                                                   (S (S (S
-                                                                   (S (S (S
-                                                                   (S (S (S
-                                                                   (S (S (S
-                                                                   (S (S (S
-                                                                   (S (S (S
-                                                                   (S (S
-                                                                   O))))))))))))))))))))))))))))))))))))))))
-                                                                   (S (S (S
-                                                                   (S (S (S
-                                                                   (S (S (S
-                                                                   (S (S (S
-                                                                   (S (S (S
-                                                                   (S (S (S
-                                                                   (S (S (S
-                                                                   (S (S (S
-                                                                   (S (S (S
-                                                                   (S (S (S
-                                                                   (S (S (S
-                                                                   (S (S (S
-                                                                   (S (S (S
-                                                                   (S (S (S
-                                                                   (S (S (S
-                                                                   (S (S (S
-                                                                   (S (S (S
-                                                                   (S (S (S
-                                                                   (S (S (S
-                                                                   (S (S (S
-                                                                   O))))))))))))))))))))))))))))))))))))))))))))))))))))))))))))
-                                                                   (String
-                                                                   ((Ascii
-                                                                   (false,
-                                                                   false,
-                                                                   true,
-                                                                   false,
-                                                                   true,
-                                                                   false,
-                                                                   true,
-                                                                   false)),
-                                                                   (String
-                                                                   ((Ascii
-                                                                   (true,
-                                                                   true,
-                                                                   true,
-                                                                   true,
-                                                                   false,
-                                                                   true,
-                                                                   true,
-                                                                   false)),
-                                                                   (String
-                                                                   ((Ascii
-                                                                   (false,
-                                                                   false,
-                                                                   true,
-                                                                   false,
-                                                                   true,
-                                                                   true,
-                                                                   true,
-                                                                   false)),
-                                                                   (String
-                                                                   ((Ascii
-                                                                   (true,
-                                                                   false,
-                                                                   false,
-                                                                   false,
-                                                                   false,
-                                                                   true,
-                                                                   true,
-                                                                   false)),
-                                                                   (String
-                                                                   ((Ascii
-                                                                   (false,
-                                                                   false,
-                                                                   true,
-                                                                   true,
-                                                                   false,
-                                                                   true,
-                                                                   true,
-                                                                   false)),
-                                                                   (String
-                                                                   ((Ascii
-                                                                   (true,
-                                                                   true,
-                                                                   false,
-                                                                   false,
-                                                                   false,
-                                                                   false,
-                                                                   true,
-                                                                   false)),
-                                                                   (String
-                                                                   ((Ascii
-                                                                   (false,
-                                                                   true,
-                                                                   false,
-                                                                   false,
-                                                                   true,
-                                                                   true,
-                                                                   true,
-                                                                   false)),
-                                                                   (String
-                                                                   ((Ascii
-                                                                   (true,
-                                                                   false,
-                                                                   true,
-                                                                   false,
-                                                                   false,
-                                                                   true,
-                                                                   true,
-                                                                   false)),
-                                                                   (String
-                                                                   ((Ascii
-                                                                   (false,
-                                                                   false,
-                                                                   true,
-                                                                   false,
-                                                                   false,
-                                                                   true,
-                                                                   true,
-                                                                   false)),
-                                                                   (String
-                                                                   ((Ascii
-                                                                   (true,
-                                                                   false,
-                                                                   false,
-                                                                   true,
-                                                                   false,
-                                                                   true,
-                                                                   true,
-                                                                   false)),
-                                                                   (String
-                                                                   ((Ascii
-                                                                   (false,
-                                                                   false,
-                                                                   true,
-                                                                   false,
-                                                                   true,
-                                                                   true,
-                                                                   true,
-                                                                   false)),
-                                                                   (String
-                                                                   ((Ascii
-                                                                   (true,
-                                                                   false,
-                                                                   true,
-                                                                   false,
-                                                                   false,
-                                                                   false,
-                                                                   true,
-                                                                   false)),
-                                                                   (String
-                                                                   ((Ascii
-                                                                   (false,
-                                                                   true,
-                                                                   true,
-                                                                   true,
-                                                                   false,
-                                                                   true,
-                                                                   true,
-                                                                   false)),
-                                                                   (String
-                                                                   ((Ascii
-                                                                   (false,
-                                                                   false,
-                                                                   true,
-                                                                   false,
-                                                                   true,
-                                                                   true,
-                                                                   true,
-                                                                   false)),
-                                                                   (String
-                                                                   ((Ascii
-                                                                   (false,
-                                                                   true,
-                                                                   false,
-                                                                   false,
-                                                                   true,
-                                                                   true,
-                                                                   true,
-                                                                   false)),
-                                                                   (String
-                                                                   ((Ascii
-                                                                   (true,
-                                                                   false,
-                                                                   false,
-                                                                   true,
-                                                                   true,
-                                                                   true,
-                                                                   true,
-                                                                   false)),
-                                                                   (String
-                                                                   ((Ascii
-                                                                   (false,
-                                                                   false,
-                                                                   true,
-                                                                   false,
-                                                                   false,
-                                                                   false,
-                                                                   true,
-                                                                   false)),
-                                                                   (String
-                                                                   ((Ascii
-                                                                   (true,
-                                                                   true,
-                                                                   true,
-                                                                   true,
-                                                                   false,
-                                                                   true,
-                                                                   true,
-                                                                   false)),
-                                                                   (String
-                                                                   ((Ascii
-                                                                   (false,
-                                                                   false,
-                                                                   true,
-                                                                   true,
-                                                                   false,
-                                                                   true,
-                                                                   true,
-                                                                   false)),
-                                                                   (String
-                                                                   ((Ascii
-                                                                   (false,
-                                                                   false,
-                                                                   true,
-                                                                   true,
-                                                                   false,
-                                                                   true,
-                                                                   true,
-                                                                   false)),
-                                                                   (String
-                                                                   ((Ascii
-                                                                   (true,
-                                                                   false,
-                                                                   false,
-                                                                   false,
-                                                                   false,
-                                                                   true,
-                                                                   true,
-                                                                   false)),
-                                                                   (String
-                                                                   ((Ascii
-                                                                   (false,
-                                                                   true,
-                                                                   false,
-                                                                   false,
-                                                                   true,
-                                                                   true,
-                                                                   true,
-                                                                   false)),
-                                                                   (String
-                                                                   ((Ascii
-                                                                   (true,
-                                                                   false,
-                                                                   false,
-                                                                   false,
-                                                                   false,
-                                                                   false,
-                                                                   true,
-                                                                   false)),
-                                                                   (String
-                                                                   ((Ascii
-                                                                   (true,
-                                                                   false,
-                                                                   true,
-                                                                   true,
-                                                                   false,
-                                                                   true,
-                                                                   true,
-                                                                   false)),
-                                                                   (String
-                                                                   ((Ascii
-                                                                   (true,
-                                                                   true,
-                                                                   true,
-                                                                   true,
-                                                                   false,
-                                                                   true,
-                                                                   true,
-                                                                   false)),
-                                                                   (String
-                                                                   ((Ascii
-                                                                   (true,
-                                                                   false,
-                                                                   true,
-                                                                   false,
-                                                                   true,
-                                                                   true,
-                                                                   true,
-                                                                   false)),
-                                                                   (String
-                                                                   ((Ascii
-                                                                   (false,
-                                                                   true,
-                                                                   true,
-                                                                   true,
-                                                                   false,
-                                                                   true,
-                                                                   true,
-                                                                   false)),
-                                                                   (String
-                                                                   ((Ascii
-                                                                   (false,
-                                                                   false,
-                                                                   true,
-                                                                   false,
-                                                                   true,
-                                                                   true,
-                                                                   true,
-                                                                   false)),
-                                                                   EmptyString))))))))))))))))))))))))))))))))))))))))))))))))))))))))
-                                                                   ((String
-                                                                   ((Ascii
-                                                                   (false,
-                                                                   false,
-                                                                   false,
-                                                                   false,
-                                                                   true,
-                                                                   true,
-                                                                   true,
-                                                                   false)),
-                                                                   (String
-                                                                   ((Ascii
-                                                                   (true,
-                                                                   false,
-                                                                   false,
-                                                                   false,
-                                                                   false,
-                                                                   true,
-                                                                   true,
-                                                                   false)),
-                                                                   (String
-                                                                   ((Ascii
-                                                                   (false,
-                                                                   true,
-                                                                   false,
-                                                                   false,
-                                                                   true,
-                                                                   true,
-                                                                   true,
-                                                                   false)),
-                                                                   (String
-                                                                   ((Ascii
-                                                                   (true,
-                                                                   true,
-                                                                   false,
-                                                                   false,
-                                                                   true,
-                                                                   true,
-                                                                   true,
-                                                                   false)),
-                                                                   (String
-                                                                   ((Ascii
-                                                                   (true,
-                                                                   false,
-                                                                   true,
-                                                                   false,
-                                                                   false,
-                                                                   true,
-                                                                   true,
-                                                                   false)),
-                                                                   (String
-                                                                   ((Ascii
-                                                                   (false,
-                                                                   true,
-                                                                   true,
-                                                                   true,
-                                                                   false,
-                                                                   false,
-                                                                   true,
-                                                                   false)),
-                                                                   (String
-                                                                   ((Ascii
-                                                                   (true,
-                                                                   false,
-                                                                   true,
-                                                                   false,
-                                                                   true,
-                                                                   true,
-                                                                   true,
-                                                                   false)),
-                                                                   (String
-                                                                   ((Ascii
-                                                                   (true,
-                                                                   false,
-                                                                   true,
-                                                                   true,
-                                                                   false,
-                                                                   true,
-                                                                   true,
-                                                                   false)),
-                                                                   (String
-                                                                   ((Ascii
-                                                                   (false,
-                                                                   true,
-                                                                   true,
-                                                                   false,
-                                                                   false,
-                                                                   false,
-                                                                   true,
-                                                                   false)),
-                                                                   (String
-                                                                   ((Ascii
-                                                                   (true,
-                                                                   false,
-                                                                   false,
-                                                                   true,
-                                                                   false,
-                                                                   true,
-                                                                   true,
-                                                                   false)),
-                                                                   (String
-                                                                   ((Ascii
-                                                                   (true,
-                                                                   false,
-                                                                   true,
-                                                                   false,
-                                                                   false,
-                                                                   true,
-                                                                   true,
-                                                                   false)),
-                                                                   (String
-                                                                   ((Ascii
-                                                                   (false,
-                                                                   false,
-                                                                   true,
-                                                                   true,
-                                                                   false,
-                                                                   true,
-                                                                   true,
-                                                                   false)),
-                                                                   (String
-                                                                   ((Ascii
-                                                                   (false,
-                                                                   false,
-                                                                   true,
-                                                                   false,
-                                                                   false,
-                                                                   true,
-                                                                   true,
-                                                                   false)),
-                                                                   EmptyString)))))))))))))))))))))))))) :: [])) :: (
-    (mkcut (S (S (S (S (S (S (S (S (S (S (S (S (S (S (S (S (S (S (S (S (S (S
-      (S (S (S (S (S (S (S (S (S (S (S (S (S (S (S (S (S (S (S (S (S (S (S (S
-      (S (S (S (S (S (S (S (S (S (S (S (S (S (S
-      O)))))))))))))))))))))))))))))))))))))))))))))))))))))))))))) (S (S (S
-      (S (S (S (S (S (S (S (S (S (S (S (S (S (S (S (S (S (S (S (S (S (S (S (S
-      (S (S (S (S (S (S (S (S (S (S (S (S (S (S (S (S (S (S (S (S (S (S (S (S
-      (S (S (S (S (S (S (S (S (S (S (S (S (S (S (S (S (S (S (S (S (S (S (S (S
-      (S (S (S (S
-      O)))))))))))))))))))))))))))))))))))))))))))))))))))))))))))))))))))))))))))))))
-      (String ((Ascii (true, false, false, false, false, false, true,
-      false)), (String ((Ascii (true, true, false, false, false, false, true,
-      false)), (String ((Ascii (false, false, false, true, false, false,
-      true, false)), (String ((Ascii (true, true, true, true, false, false,
-      true, false)), (String ((Ascii (false, false, false, false, true, true,
-      true, false)), (String ((Ascii (true, false, true, false, false, true,
-      true, false)), (String ((Ascii (false, true, false, false, true, true,
-      true, false)), (String ((Ascii (true, false, false, false, false, true,
-      true, false)), (String ((Ascii (false, false, true, false, true, true,
-      true, false)), (String ((Ascii (true, true, true, true, false, true,
-      true, false)), (String ((Ascii (false, true, false, false, true, true,
-      true, false)), (String ((Ascii (false, false, true, false, false,
-      false, true, false)), (String ((Ascii (true, false, false, false,
-      false, true, true, false)), (String ((Ascii (false, false, true, false,
-      true, true, true, false)), (String ((Ascii (true, false, false, false,
-      false, true, true, false)), EmptyString))))))))))))))))))))))))))))))
-      ((String ((Ascii (true, true, false, false, true, true, true, false)),
-      (String ((Ascii (false, false, true, false, true, true, true, false)),
-      (String ((Ascii (false, true, false, false, true, true, true, false)),
-      (String ((Ascii (true, false, false, true, false, true, true, false)),
-      (String ((Ascii (false, true, true, true, false, true, true, false)),
-      (String ((Ascii (true, true, true, false, false, true, true, false)),
-      (String ((Ascii (true, true, false, false, true, true, true, false)),
-      (String ((Ascii (false, true, true, true, false, true, false, false)),
-      (String ((Ascii (false, false, true, false, true, false, true, false)),
-      (String ((Ascii (false, true, false, false, true, true, true, false)),
-      (String ((Ascii (true, false, false, true, false, true, true, false)),
-      (String ((Ascii (true, false, true, true, false, true, true, false)),
-      (String ((Ascii (true, true, false, false, true, false, true, false)),
-      (String ((Ascii (false, false, false, false, true, true, true, false)),
-      (String ((Ascii (true, false, false, false, false, true, true, false)),
-      (String ((Ascii (true, true, false, false, false, true, true, false)),
-      (String ((Ascii (true, false, true, false, false, true, true, false)),
-      EmptyString)))))))))))))))))))))))))))))))))) :: [])) :: ((mkcut (S (S
-                                                                  (S (S (S (S
-                                                                  (S (S (S (S
-                                                                  (S (S (S (S
-                                                                  (S (S (S (S
-                                                                  (S (S (S (S
-                                                                  (S (S (S (S
-                                                                  (S (S (S (S
-                                                                  (S (S (S (S
-                                                                  (S (S (S (S
-                                                                  (S (S (S (S
-                                                                  (S (S (S (S
-                                                                  (S (S (S (S
-                                                                  (S (S (S (S
-                                                                  (S (S (S (S
-                                                                  (S (S (S (S
-                                                                  (S (S (S (S
-                                                                  (S (S (S (S
-                                                                  (S (S (S (S
-                                                                  (S (S (S (S
-                                                                  (S
-                                                                  O)))))))))))))))))))))))))))))))))))))))))))))))))))))))))))))))))))))))))))))))
-                                                                  (S (S (S (S
-                                                                  (S (S (S (S
-                                                                  (S (S (S (S
-                                                                  (S (S (S (S
-                                                                  (S (S (S (S
-                                                                  (S (S (S (S
-                                                                  (S (S (S (S
-                                                                  (S (S (S (S
-                                                                  (S (S (S (S
-                                                                  (S (S (S (S
-                                                                  (S (S (S (S
-                                                                  (S (S (S (S
-                                                                  (S (S (S (S
-                                                                  (S (S (S (S
-                                                                  (S (S (S (S
-                                                                  (S (S (S (S
-                                                                  (S (S (S (S
-                                                                  (S (S (S (S
-                                                                  (S (S (S (S
-                                                                  (S (S (S (S
-                                                                  (S (S (S (S
-                                                                  (S (S (S
-                                                                  O)))))))))))))))))))))))))))))))))))))))))))))))))))))))))))))))))))))))))))))))))))))))
-                                                                  (String
-                                                                  ((Ascii
-                                                                  (true,
-                                                                  true, true,
-                                                                  true,
-                                                                  false,
-                                                                  false,
-                                                                  true,
-                                                                  false)),
-                                                                  (String
-                                                                  ((Ascii
-                                                                  (false,
-                                                                  false,
-                                                                  true,
-                                                                  false,
-                                                                  false,
-                                                                  false,
-                                                                  true,
-                                                                  false)),
-                                                                  (String
-                                                                  ((Ascii
-                                                                  (false,
-                                                                  true, true,
-                                                                  false,
-                                                                  false,
-                                                                  false,
-                                                                  true,
-                                                                  false)),
-                                                                  (String
-                                                                  ((Ascii
-                                                                  (true,
-                                                                  false,
-                                                                  false,
-                                                                  true,
-                                                                  false,
-                                                                  false,
-                                                                  true,
-                                                                  false)),
-                                                                  (String
-                                                                  ((Ascii
-                                                                  (true,
-                                                                  false,
-                                                                  false,
-                                                                  true,
-                                                                  false,
-                                                                  false,
-                                                                  true,
-                                                                  false)),
-                                                                  (String
-                                                                  ((Ascii
-                                                                  (false,
-                                                                  false,
-                                                                  true,
-                                                                  false,
-                                                                  false,
-                                                                  true, true,
-                                                                  false)),
-                                                                  (String
-                                                                  ((Ascii
-                                                                  (true,
-                                                                  false,
-                                                                  true,
-                                                                  false,
-                                                                  false,
-                                                                  true, true,
-                                                                  false)),
-                                                                  (String
-                                                                  ((Ascii
-                                                                  (false,
-                                                                  true, true,
-                                                                  true,
-                                                                  false,
-                                                                  true, true,
-                                                                  false)),
-                                                                  (String
-                                                                  ((Ascii
-                                                                  (false,
-                                                                  false,
-                                                                  true,
-                                                                  false,
-                                                                  true, true,
-                                                                  true,
-                                                                  false)),
-                                                                  (String
-                                                                  ((Ascii
-                                                                  (true,
-                                                                  false,
-                                                                  false,
-                                                                  true,
-                                                                  false,
-                                                                  true, true,
-                                                                  false)),
-                                                                  (String
-                                                                  ((Ascii
-                                                                  (false,
-                                                                  true, true,
-                                                                  false,
-                                                                  false,
-                                                                  true, true,
-                                                                  false)),
-                                                                  (String
-                                                                  ((Ascii
-                                                                  (true,
-                                                                  false,
-                                                                  false,
-                                                                  true,
-                                                                  false,
-                                                                  true, true,
-                                                                  false)),
-                                                                  (String
-                                                                  ((Ascii
-                                                                  (true,
-                                                                  true,
-                                                                  false,
-                                                                  false,
-                                                                  false,
-                                                                  true, true,
-                                                                  false)),
-                                                                  (String
-                                                                  ((Ascii
-                                                                  (true,
-                                                                  false,
-                                                                  false,
-                                                                  false,
-                                                                  false,
-                                                                  true, true,
-                                                                  false)),
-                                                                  (String
-                                                                  ((Ascii
-                                                                  (false,
-                                                                  false,
-                                                                  true,
-                                                                  false,
-                                                                  true, true,
-                                                                  true,
-                                                                  false)),
-                                                                  (String
-                                                                  ((Ascii
-                                                                  (true,
-                                                                  false,
-                                                                  false,
-                                                                  true,
-                                                                  false,
-                                                                  true, true,
-                                                                  false)),
-                                                                  (String
-                                                                  ((Ascii
-                                                                  (true,
-                                                                  true, true,
-                                                                  true,
-                                                                  false,
-                                                                  true, true,
-                                                                  false)),
-                                                                  (String
-                                                                  ((Ascii
-                                                                  (false,
-                                                                  true, true,
-                                                                  true,
-                                                                  false,
-                                                                  true, true,
-                                                                  false)),
-                                                                  EmptyString))))))))))))))))))))))))))))))))))))
-                                                                  ((String
-                                                                  ((Ascii
-                                                                  (false,
-                                                                  false,
-                                                                  false,
-                                                                  false,
-                                                                  true, true,
-                                                                  true,
-                                                                  false)),
-                                                                  (String
-                                                                  ((Ascii
-                                                                  (true,
-                                                                  false,
-                                                                  false,
-                                                                  false,
-                                                                  false,
-                                                                  true, true,
-                                                                  false)),
-                                                                  (String
-                                                                  ((Ascii
-                                                                  (false,
-                                                                  true,
-                                                                  false,
-                                                                  false,
-                                                                  true, true,
-                                                                  true,
-                                                                  false)),
-                                                                  (String
-                                                                  ((Ascii
-                                                                  (true,
-                                                                  true,
-                                                                  false,
-                                                                  false,
-                                                                  true, true,
-                                                                  true,
-                                                                  false)),
-                                                                  (String
-                                                                  ((Ascii
-                                                                  (true,
-                                                                  false,
-                                                                  true,
-                                                                  false,
-                                                                  false,
-                                                                  true, true,
-                                                                  false)),
-                                                                  (String
-                                                                  ((Ascii
-                                                                  (true,
-                                                                  true,
-                                                                  false,
-                                                                  false,
-                                                                  true,
-                                                                  false,
-                                                                  true,
-                                                                  false)),
-                                                                  (String
-                                                                  ((Ascii
-                                                                  (false,
-                                                                  false,
-                                                                  true,
-                                                                  false,
-                                                                  true, true,
-                                                                  true,
-                                                                  false)),
-                                                                  (String
-                                                                  ((Ascii
-                                                                  (false,
-                                                                  true,
-                                                                  false,
-                                                                  false,
-                                                                  true, true,
-                                                                  true,
-                                                                  false)),
-                                                                  (String
-                                                                  ((Ascii
-                                                                  (true,
-                                                                  false,
-                                                                  false,
-                                                                  true,
-                                                                  false,
-                                                                  true, true,
-                                                                  false)),
-                                                                  (String
-                                                                  ((Ascii
-                                                                  (false,
-                                                                  true, true,
-                                                                  true,
-                                                                  false,
-                                                                  true, true,
-                                                                  false)),
-                                                                  (String
-                                                                  ((Ascii
-                                                                  (true,
-                                                                  true, true,
-                                                                  false,
-                                                                  false,
-                                                                  true, true,
-                                                                  false)),
-                                                                  (String
-                                                                  ((Ascii
-                                                                  (false,
-                                                                  true, true,
-                                                                  false,
-                                                                  false,
-                                                                  false,
-                                                                  true,
-                                                                  false)),
-                                                                  (String
-                                                                  ((Ascii
-                                                                  (true,
-                                                                  false,
-                                                                  false,
-                                                                  true,
-                                                                  false,
-                                                                  true, true,
-                                                                  false)),
-                                                                  (String
-                                                                  ((Ascii
-                                                                  (true,
-                                                                  false,
-                                                                  true,
-                                                                  false,
-                                                                  false,
-                                                                  true, true,
-                                                                  false)),
-                                                                  (String
-                                                                  ((Ascii
-                                                                  (false,
-                                                                  false,
-                                                                  true, true,
-                                                                  false,
-                                                                  true, true,
-                                                                  false)),
-                                                                  (String
-                                                                  ((Ascii
-                                                                  (false,
-                                                                  false,
-                                                                  true,
-                                                                  false,
-                                                                  false,
-                                                                  true, true,
-                                                                  false)),
-                                                                  EmptyString)))))))))))))))))))))))))))))))) :: [])) :: (
-    (mkcut (S (S (S (S (S (S (S (S (S (S (S (S (S (S (S (S (S (S (S (S (S (S
-      (S (S (S (S (S (S (S (S (S (S (S (S (S (S (S (S (S (S (S (S (S (S (S (S
-      (S (S (S (S (S (S (S (S (S (S (S (S (S (S (S (S (S (S (S (S (S (S (S (S
-      (S (S (S (S (S (S (S (S (S (S (S (S (S (S (S (S (S
-      O)))))))))))))))))))))))))))))))))))))))))))))))))))))))))))))))))))))))))))))))))))))))
-      (S (S (S (S (S (S (S (S (S (S (S (S (S (S (S (S (S (S (S (S (S (S (S (S
-      (S (S (S (S (S (S (S (S (S (S (S (S (S (S (S (S (S (S (S (S (S (S (S (S
-      (S (S (S (S (S (S (S (S (S (S (S (S (S (S (S (S (S (S (S (S (S (S (S (S
-      (S (S (S (S (S (S (S (S (S (S (S (S (S (S (S (S (S (S (S (S (S (S
-      O))))))))))))))))))))))))))))))))))))))))))))))))))))))))))))))))))))))))))))))))))))))))))))))
-      (String ((Ascii (false, true, false, false, false, false, true,
-      false)), (String ((Ascii (true, false, false, false, false, true, true,
-      false)), (String ((Ascii (false, false, true, false, true, true, true,
-      false)), (String ((Ascii (true, true, false, false, false, true, true,
-      false)), (String ((Ascii (false, false, false, true, false, true, true,
-      false)), (String ((Ascii (false, true, true, true, false, false, true,
-      false)), (String ((Ascii (true, false, true, false, true, true, true,
-      false)), (String ((Ascii (true, false, true, true, false, true, true,
-      false)), (String ((Ascii (false, true, false, false, false, true, true,
-      false)), (String ((Ascii (true, false, true, false, false, true, true,
-      false)), (String ((Ascii (false, true, false, false, true, true, true,
-      false)), EmptyString)))))))))))))))))))))) ((String ((Ascii (false,
-      false, false, false, true, true, true, false)), (String ((Ascii (true,
-      false, false, false, false, true, true, false)), (String ((Ascii
-      (false, true, false, false, true, true, true, false)), (String ((Ascii
-      (true, true, false, false, true, true, true, false)), (String ((Ascii
-      (true, false, true, false, false, true, true, false)), (String ((Ascii
-      (false, true, true, true, false, false, true, false)), (String ((Ascii
-      (true, false, true, false, true, true, true, false)), (String ((Ascii
-      (true, false, true, true, false, true, true, false)), (String ((Ascii
-      (false, true, true, false, false, false, true, false)), (String ((Ascii
-      (true, false, false, true, false, true, true, false)), (String ((Ascii
-      (true, false, true, false, false, true, true, false)), (String ((Ascii
-      (false, false, true, true, false, true, true, false)), (String ((Ascii
-      (false, false, true, false, false, true, true, false)),
-      EmptyString)))))))))))))))))))))))))) :: [])) :: []))))))))) }
-
-(** val l_ADVEntryDetail : layout **)
-
-let l_ADVEntryDetail =
-  { l_name = (String ((Ascii (true, false, false, false, false, false, true,
-    false)), (String ((Ascii (false, false, true, false, false, false, true,
-    false)), (String ((Ascii (false, true, true, false, true, false, true,
-    false)), (String ((Ascii (true, false, true, false, false, false, true,
-    false)), (String ((Ascii (false, true, true, true, false, true, true,
-    false)), (String ((Ascii (false, false, true, false, true, true, true,
-    false)), (String ((Ascii (false, true, false, false, true, true, true,
-    false)), (String ((Ascii (true, false, false, true, true, true, true,
-    false)), (String ((Ascii (false, false, true, false, false, false, true,
-    false)), (String ((Ascii (true, false, true, false, false, true, true,
-    false)), (String ((Ascii (false, false, true, false, true, true, true,
-    false)), (String ((Ascii (true, false, false, false, false, true, true,
-    false)), (String ((Ascii (true, false, false, true, false, true, true,
-    false)), (String ((Ascii (false, false, true, true, false, true, true,
-    false)), EmptyString)))))))))))))))))))))))))))); l_ix = IRune; l_segs =
-    ((SLit ((Npos (XO (XI (XI (XO (XI XH)))))) :: [])) :: ((SItoa (String
-    ((Ascii (false, false, true, false, true, false, true, false)), (String
-    ((Ascii (false, true, false, false, true, true, true, false)), (String
-    ((Ascii (true, false, false, false, false, true, true, false)), (String
-    ((Ascii (false, true, true, true, false, true, true, false)), (String
-    ((Ascii (true, true, false, false, true, true, true, false)), (String
-    ((Ascii (true, false, false, false, false, true, true, false)), (String
-    ((Ascii (true, true, false, false, false, true, true, false)), (String
-    ((Ascii (false, false, true, false, true, true, true, false)), (String
-    ((Ascii (true, false, false, true, false, true, true, false)), (String
-    ((Ascii (true, true, true, true, false, true, true, false)), (String
-    ((Ascii (false, true, true, true, false, true, true, false)), (String
-    ((Ascii (true, true, false, false, false, false, true, false)), (String
-    ((Ascii (true, true, true, true, false, true, true, false)), (String
-    ((Ascii (false, false, true, false, false, true, true, false)), (String
-    ((Ascii (true, false, true, false, false, true, true, false)),
-    EmptyString))))))))))))))))))))))))))))))) :: ((SStr ((String ((Ascii
-    (false, true, false, false, true, false, true, false)), (String ((Ascii
-    (false, false, true, false, false, false, true, false)), (String ((Ascii
-    (false, true, true, false, false, false, true, false)), (String ((Ascii
-    (true, false, false, true, false, false, true, false)), (String ((Ascii
-    (true, false, false, true, false, false, true, false)), (String ((Ascii
-    (false, false, true, false, false, true, true, false)), (String ((Ascii
-    (true, false, true, false, false, true, true, false)), (String ((Ascii
-    (false, true, true, true, false, true, true, false)), (String ((Ascii
-    (false, false, true, false, true, true, true, false)), (String ((Ascii
-    (true, false, false, true, false, true, true, false)), (String ((Ascii
-    (false, true, true, false, false, true, true, false)), (String ((Ascii
-    (true, false, false, true, false, true, true, false)), (String ((Ascii
-    (true, true, false, false, false, true, true, false)), (String ((Ascii
-    (true, false, false, false, false, true, true, false)), (String ((Ascii
-    (false, false, true, false, true, true, true, false)), (String ((Ascii
-    (true, false, false, true, false, true, true, false)), (String ((Ascii
-    (true, true, true, true, false, true, true, false)), (String ((Ascii
-    (false, true, true, true, false, true, true, false)),
-    EmptyString)))))))))))))))))))))))))))))))))))), (S (S (S (S (S (S (S (S
-    O)))))))))) :: ((SRaw (String ((Ascii (true, true, false, false, false,
-    false, true, false)), (String ((Ascii (false, false, false, true, false,
-    true, true, false)), (String ((Ascii (true, false, true, false, false,
-    true, true, false)), (String ((Ascii (true, true, false, false, false,
-    true, true, false)), (String ((Ascii (true, true, false, true, false,
-    true, true, false)), (String ((Ascii (false, false, true, false, false,
-    false, true, false)), (String ((Ascii (true, false, false, true, false,
-    true, true, false)), (String ((Ascii (true, true, true, false, false,
-    true, true, false)), (String ((Ascii (true, false, false, true, false,
-    true, true, false)), (String ((Ascii (false, false, true, false, true,
-    true, true, false)), EmptyString))))))))))))))))))))) :: ((SAlpha
-    ((String ((Ascii (false, false, true, false, false, false, true, false)),
-    (String ((Ascii (false, true, true, false, false, false, true, false)),
-    (String ((Ascii (true, false, false, true, false, false, true, false)),
-    (String ((Ascii (true, false, false, false, false, false, true, false)),
-    (String ((Ascii (true, true, false, false, false, true, true, false)),
-    (String ((Ascii (true, true, false, false, false, true, true, false)),
-    (String ((Ascii (true, true, true, true, false, true, true, false)),
-    (String ((Ascii (true, false, true, false, true, true, true, false)),
-    (String ((Ascii (false, true, true, true, false, true, true, false)),
-    (String ((Ascii (false, false, true, false, true, true, true, false)),
-    (String ((Ascii (false, true, true, true, false, false, true, false)),
-    (String ((Ascii (true, false, true, false, true, true, true, false)),
-    (String ((Ascii (true, false, true, true, false, true, true, false)),
-    (String ((Ascii (false, true, false, false, false, true, true, false)),
-    (String ((Ascii (true, false, true, false, false, true, true, false)),
-    (String ((Ascii (false, true, false, false, true, true, true, false)),
-    EmptyString)))))))))))))))))))))))))))))))), (S (S (S (S (S (S (S (S (S
-    (S (S (S (S (S (S O))))))))))))))))) :: ((SNum ((String ((Ascii (true,
-    false, false, false, false, false, true, false)), (String ((Ascii (true,
-    false, true, true, false, true, true, false)), (String ((Ascii (true,
-    true, true, true, false, true, true, false)), (String ((Ascii (true,
-    false, true, false, true, true, true, false)), (String ((Ascii (false,
-    true, true, true, false, true, true, false)), (String ((Ascii (false,
-    false, true, false, true, true, true, false)), EmptyString)))))))))))),
-    (S (S (S (S (S (S (S (S (S (S (S (S O)))))))))))))) :: ((SStr ((String
-    ((Ascii (true, false, false, false, false, false, true, false)), (String
-    ((Ascii (false, false, true, false, false, true, true, false)), (String
-    ((Ascii (false, true, true, false, true, true, true, false)), (String
-    ((Ascii (true, false, false, true, false, true, true, false)), (String
-    ((Ascii (true, true, false, false, false, true, true, false)), (String
-    ((Ascii (true, false, true, false, false, true, true, false)), (String
-    ((Ascii (false, true, false, false, true, false, true, false)), (String
-    ((Ascii (true, true, true, true, false, true, true, false)), (String
-    ((Ascii (true, false, true, false, true, true, true, false)), (String
-    ((Ascii (false, false, true, false, true, true, true, false)), (String
-    ((Ascii (true, false, false, true, false, true, true, false)), (String
-    ((Ascii (false, true, true, true, false, true, true, false)), (String
-    ((Ascii (true, true, true, false, false, true, true, false)), (String
-    ((Ascii (false, true, true, true, false, false, true, false)), (String
-    ((Ascii (true, false, true, false, true, true, true, false)), (String
-    ((Ascii (true, false, true, true, false, true, true, false)), (String
-    ((Ascii (false, true, false, false, false, true, true, false)), (String
-    ((Ascii (true, false, true, false, false, true, true, false)), (String
-    ((Ascii (false, true, false, false, true, true, true, false)),
-    EmptyString)))))))))))))))))))))))))))))))))))))), (S (S (S (S (S (S (S
-    (S (S O))))))))))) :: ((SAlpha ((String ((Ascii (false, true, true,
-    false, false, false, true, false)), (String ((Ascii (true, false, false,
-    true, false, true, true, false)), (String ((Ascii (false, false, true,
-    true, false, true, true, false)), (String ((Ascii (true, false, true,
-    false, false, true, true, false)), (String ((Ascii (true, false, false,
-    true, false, false, true, false)), (String ((Ascii (false, false, true,
-    false, false, true, true, false)), (String ((Ascii (true, false, true,
-    false, false, true, true, false)), (String ((Ascii (false, true, true,
-    true, false, true, true, false)), (String ((Ascii (false, false, true,
-    false, true, true, true, false)), (String ((Ascii (true, false, false,
-    true, false, true, true, false)), (String ((Ascii (false, true, true,
-    false, false, true, true, false)), (String ((Ascii (true, false, false,
-    true, false, true, true, false)), (String ((Ascii (true, true, false,
-    false, false, true, true, false)), (String ((Ascii (true, false, false,
-    false, false, true, true, false)), (String ((Ascii (false, false, true,
-    false, true, true, true, false)), (String ((Ascii (true, false, false,
-    true, false, true, true, false)), (String ((Ascii (true, true, true,
-    true, false, true, true, false)), (String ((Ascii (false, true, true,
-    true, false, true, true, false)),
-    EmptyString)))))))))))))))))))))))))))))))))))), (S (S (S (S (S
-    O))))))) :: ((SAlpha ((String ((Ascii (true, false, false, false, false,
-    false, true, false)), (String ((Ascii (true, true, false, false, false,
-    false, true, false)), (String ((Ascii (false, false, false, true, false,
-    false, true, false)), (String ((Ascii (true, true, true, true, false,
-    false, true, false)), (String ((Ascii (false, false, false, false, true,
-    true, true, false)), (String ((Ascii (true, false, true, false, false,
-    true, true, false)), (String ((Ascii (false, true, false, false, true,
-    true, true, false)), (String ((Ascii (true, false, false, false, false,
-    true, true, false)), (String ((Ascii (false, false, true, false, true,
-    true, true, false)), (String ((Ascii (true, true, true, true, false,
-    true, true, false)), (String ((Ascii (false, true, false, false, true,
-    true, true, false)), (String ((Ascii (false, false, true, false, false,
-    false, true, false)), (String ((Ascii (true, false, false, false, false,
-    true, true, false)), (String ((Ascii (false, false, true, false, true,
-    true, true, false)), (String ((Ascii (true, false, false, false, false,
-    true, true, false)), EmptyString)))))))))))))))))))))))))))))), (S
-    O))) :: ((SAlpha ((String ((Ascii (true, false, false, true, false,
-    false, true, false)), (String ((Ascii (false, true, true, true, false,
-    true, true, false)), (String ((Ascii (false, false, true, false, false,
-    true, true, false)), (String ((Ascii (true, false, false, true, false,
-    true, true, false)), (String ((Ascii (false, true, true, false, true,
-    true, true, false)), (String ((Ascii (true, false, false, true, false,
-    true, true, false)), (String ((Ascii (false, false, true, false, false,
-    true, true, false)), (String ((Ascii (true, false, true, false, true,
-    true, true, false)), (String ((Ascii (true, false, false, false, false,
-    true, true, false)), (String ((Ascii (false, false, true, true, false,
-    true, true, false)), (String ((Ascii (false, true, true, true, false,
-    false, true, false)), (String ((Ascii (true, false, false, false, false,
-    true, true, false)), (String ((Ascii (true, false, true, true, false,
-    true, true, false)), (String ((Ascii (true, false, true, false, false,
-    true, true, false)), EmptyString)))))))))))))))))))))))))))), (S (S (S (S
-    (S (S (S (S (S (S (S (S (S (S (S (S (S (S (S (S (S (S
-    O)))))))))))))))))))))))) :: ((SAlpha ((String ((Ascii (false, false,
-    true, false, false, false, true, false)), (String ((Ascii (true, false,
-    false, true, false, true, true, false)), (String ((Ascii (true, true,
-    false, false, true, true, true, false)), (String ((Ascii (true, true,
-    false, false, false, true, true, false)), (String ((Ascii (false, true,
-    false, false, true, true, true, false)), (String ((Ascii (true, false,
-    true, false, false, true, true, false)), (String ((Ascii (false, false,
-    true, false, true, true, true, false)), (String ((Ascii (true, false,
-    false, true, false, true, true, false)), (String ((Ascii (true, true,
-    true, true, false, true, true, false)), (String ((Ascii (false, true,
-    true, true, false, true, true, false)), (String ((Ascii (true, false,
-    false, false, false, true, true, false)), (String ((Ascii (false, true,
-    false, false, true, true, true, false)), (String ((Ascii (true, false,
-    false, true, true, true, true, false)), (String ((Ascii (false, false,
-    true, false, false, false, true, false)), (String ((Ascii (true, false,
-    false, false, false, true, true, false)), (String ((Ascii (false, false,
-    true, false, true, true, true, false)), (String ((Ascii (true, false,
-    false, false, false, true, true, false)),
-    EmptyString)))))))))))))))))))))))))))))))))), (S (S O)))) :: ((SItoa
-    (String ((Ascii (true, false, false, false, false, false, true, false)),
-    (String ((Ascii (false, false, true, false, false, true, true, false)),
-    (String ((Ascii (false, false, true, false, false, true, true, false)),
-    (String ((Ascii (true, false, true, false, false, true, true, false)),
-    (String ((Ascii (false, true, true, true, false, true, true, false)),
-    (String ((Ascii (false, false, true, false, false, true, true, false)),
-    (String ((Ascii (true, false, false, false, false, true, true, false)),
-    (String ((Ascii (false, true, false, false, true, false, true, false)),
-    (String ((Ascii (true, false, true, false, false, true, true, false)),
-    (String ((Ascii (true, true, false, false, false, true, true, false)),
-    (String ((Ascii (true, true, true, true, false, true, true, false)),
-    (String ((Ascii (false, true, false, false, true, true, true, false)),
-    (String ((Ascii (false, false, true, false, false, true, true, false)),
-    (String ((Ascii (true, false, false, true, false, false, true, false)),
-    (String ((Ascii (false, true, true, true, false, true, true, false)),
-    (String ((Ascii (false, false, true, false, false, true, true, false)),
-    (String ((Ascii (true, false, false, true, false, true, true, false)),
-    (String ((Ascii (true, true, false, false, false, true, true, false)),
-    (String ((Ascii (true, false, false, false, false, true, true, false)),
-    (String ((Ascii (false, false, true, false, true, true, true, false)),
-    (String ((Ascii (true, true, true, true, false, true, true, false)),
-    (String ((Ascii (false, true, false, false, true, true, true, false)),
-    EmptyString))))))))))))))))))))))))))))))))))))))))))))) :: ((SAlpha
-    ((String ((Ascii (true, false, false, false, false, false, true, false)),
-    (String ((Ascii (true, true, false, false, false, false, true, false)),
-    (String ((Ascii (false, false, false, true, false, false, true, false)),
-    (String ((Ascii (true, true, true, true, false, false, true, false)),
-    (String ((Ascii (false, false, false, false, true, true, true, false)),
-    (String ((Ascii (true, false, true, false, false, true, true, false)),
-    (String ((Ascii (false, true, false, false, true, true, true, false)),
-    (String ((Ascii (true, false, false, false, false, true, true, false)),
-    (String ((Ascii (false, false, true, false, true, true, true, false)),
-    (String ((Ascii (true, true, true, true, false, true, true, false)),
-    (String ((Ascii (false, true, false, false, true, true, true, false)),
-    (String ((Ascii (false, true, false, false, true, false, true, false)),
-    (String ((Ascii (true, true, true, true, false, true, true, false)),
-    (String ((Ascii (true, false, true, false, true, true, true, false)),
-    (String ((Ascii (false, false, true, false, true, true, true, false)),
-    (String ((Ascii (true, false, false, true, false, true, true, false)),
-    (String ((Ascii (false, true, true, true, false, true, true, false)),
-    (String ((Ascii (true, true, true, false, false, true, true, false)),
-    (String ((Ascii (false, true, true, true, false, false, true, false)),
-    (String ((Ascii (true, false, true, false, true, true, true, false)),
-    (String ((Ascii (true, false, true, true, false, true, true, false)),
-    (String ((Ascii (false, true, false, false, false, true, true, false)),
-    (String ((Ascii (true, false, true, false, false, true, true, false)),
-    (String ((Ascii (false, true, false, false, true, true, true, false)),
-    EmptyString)))))))))))))))))))))))))))))))))))))))))))))))), (S (S (S (S
-    (S (S (S (S O)))))))))) :: ((SNum ((String ((Ascii (false, true, false,
-    true, false, false, true, false)), (String ((Ascii (true, false, true,
-    false, true, true, true, false)), (String ((Ascii (false, false, true,
-    true, false, true, true, false)), (String ((Ascii (true, false, false,
-    true, false, true, true, false)), (String ((Ascii (true, false, false,
-    false, false, true, true, false)), (String ((Ascii (false, true, true,
-    true, false, true, true, false)), (String ((Ascii (false, false, true,
-    false, false, false, true, false)), (String ((Ascii (true, false, false,
-    false, false, true, true, false)), (String ((Ascii (true, false, false,
-    true, true, true, true, false)), EmptyString)))))))))))))))))), (S (S (S
-    O))))) :: ((SNum ((String ((Ascii (true, true, false, false, true, false,
-    true, false)), (String ((Ascii (true, false, true, false, false, true,
-    true, false)), (String ((Ascii (true, false, false, false, true, true,
-    true, false)), (String ((Ascii (true, false, true, false, true, true,
-    true, false)), (String ((Ascii (true, false, true, false, false, true,
-    true, false)), (String ((Ascii (false, true, true, true, false, true,
-    true, false)), (String ((Ascii (true, true, false, false, false, true,
-    true, false)), (String ((Ascii (true, false, true, false, false, true,
-    true, false)), (String ((Ascii (false, true, true, true, false, false,
-    true, false)), (String ((Ascii (true, false, true, false, true, true,
-    true, false)), (String ((Ascii (true, false, true, true, false, true,
-    true, false)), (String ((Ascii (false, true, false, false, false, true,
-    true, false)), (String ((Ascii (true, false, true, false, false, true,
-    true, false)), (String ((Ascii (false, true, false, false, true, true,
-    true, false)), EmptyString)))))))))))))))))))))))))))), (S (S (S (S
-    O)))))) :: []))))))))))))))); l_cuts =
-    ((mkcut (S O) (S (S (S O))) (String ((Ascii (false, false, true, false,
-       true, false, true, false)), (String ((Ascii (false, true, false,
-       false, true, true, true, false)), (String ((Ascii (true, false, false,
-       false, false, true, true, false)), (String ((Ascii (false, true, true,
-       true, false, true, true, false)), (String ((Ascii (true, true, false,
-       false, true, true, true, false)), (String ((Ascii (true, false, false,
-       false, false, true, true, false)), (String ((Ascii (true, true, false,
-       false, false, true, true, false)), (String ((Ascii (false, false,
-       true, false, true, true, true, false)), (String ((Ascii (true, false,
-       false, true, false, true, true, false)), (String ((Ascii (true, true,
-       true, true, false, true, true, false)), (String ((Ascii (false, true,
-       true, true, false, true, true, false)), (String ((Ascii (true, true,
-       false, false, false, false, true, false)), (String ((Ascii (true,
-       true, true, true, false, true, true, false)), (String ((Ascii (false,
-       false, true, false, false, true, true, false)), (String ((Ascii (true,
-       false, true, false, false, true, true, false)),
-       EmptyString)))))))))))))))))))))))))))))) ((String ((Ascii (false,
-       false, false, false, true, true, true, false)), (String ((Ascii (true,
-       false, false, false, false, true, true, false)), (String ((Ascii
-       (false, true, false, false, true, true, true, false)), (String ((Ascii
-       (true, true, false, false, true, true, true, false)), (String ((Ascii
-       (true, false, true, false, false, true, true, false)), (String ((Ascii
-       (false, true, true, true, false, false, true, false)), (String ((Ascii
-       (true, false, true, false, true, true, true, false)), (String ((Ascii
-       (true, false, true, true, false, true, true, false)), (String ((Ascii
-       (false, true, true, false, false, false, true, false)), (String
-       ((Ascii (true, false, false, true, false, true, true, false)), (String
-       ((Ascii (true, false, true, false, false, true, true, false)), (String
-       ((Ascii (false, false, true, true, false, true, true, false)), (String
-       ((Ascii (false, false, true, false, false, true, true, false)),
-       EmptyString)))))))))))))))))))))))))) :: [])) :: ((mkcut (S (S (S O)))
-                                                           (S (S (S (S (S (S
-                                                           (S (S (S (S (S
-                                                           O)))))))))))
-                                                           (String ((Ascii
-                                                           (false, true,
-                                                           false, false,
-                                                           true, false, true,
-                                                           false)), (String
-                                                           ((Ascii (false,
-                                                           false, true,
-                                                           false, false,
-                                                           false, true,
-                                                           false)), (String
-                                                           ((Ascii (false,
-                                                           true, true, false,
-                                                           false, false,
-                                                           true, false)),
-                                                           (String ((Ascii
-                                                           (true, false,
-                                                           false, true,
-                                                           false, false,
-                                                           true, false)),
-                                                           (String ((Ascii
-                                                           (true, false,
-                                                           false, true,
-                                                           false, false,
-                                                           true, false)),
-                                                           (String ((Ascii
-                                                           (false, false,
-                                                           true, false,
-                                                           false, true, true,
-                                                           false)), (String
-                                                           ((Ascii (true,
-                                                           false, true,
-                                                           false, false,
-                                                           true, true,
-                                                           false)), (String
-                                                           ((Ascii (false,
-                                                           true, true, true,
-                                                           false, true, true,
-                                                           false)), (String
-                                                           ((Ascii (false,
-                                                           false, true,
-                                                           false, true, true,
-                                                           true, false)),
-                                                           (String ((Ascii
-                                                           (true, false,
-                                                           false, true,
-                                                           false, true, true,
-                                                           false)), (String
-                                                           ((Ascii (false,
-                                                           true, true, false,
-                                                           false, true, true,
-                                                           false)), (String
-                                                           ((Ascii (true,
-                                                           false, false,
-                                                           true, false, true,
-                                                           true, false)),
-                                                           (String ((Ascii
-                                                           (true, true,
-                                                           false, false,
-                                                           false, true, true,
-                                                           false)), (String
-                                                           ((Ascii (true,
-                                                           false, false,
-                                                           false, false,
-                                                           true, true,
-                                                           false)), (String
-                                                           ((Ascii (false,
-                                                           false, true,
-                                                           false, true, true,
-                                                           true, false)),
-                                                           (String ((Ascii
-                                                           (true, false,
-                                                           false, true,
-                                                           false, true, true,
-                                                           false)), (String
-                                                           ((Ascii (true,
-                                                           true, true, true,
-                                                           false, true, true,
-                                                           false)), (String
-                                                           ((Ascii (false,
-                                                           true, true, true,
-                                                           false, true, true,
-                                                           false)),
-                                                           EmptyString))))))))))))))))))))))))))))))))))))
-                                                           ((String ((Ascii
-                                                           (false, false,
-                                                           false, false,
-                                                           true, true, true,
-                                                           false)), (String
-                                                           ((Ascii (true,
-                                                           false, false,
-                                                           false, false,
-                                                           true, true,
-                                                           false)), (String
-                                                           ((Ascii (false,
-                                                           true, false,
-                                                           false, true, true,
-                                                           true, false)),
-                                                           (String ((Ascii
-                                                           (true, true,
-                                                           false, false,
-                                                           true, true, true,
-                                                           false)), (String
-                                                           ((Ascii (true,
-                                                           false, true,
-                                                           false, false,
-                                                           true, true,
-                                                           false)), (String
-                                                           ((Ascii (true,
-                                                           true, false,
-                                                           false, true,
-                                                           false, true,
-                                                           false)), (String
-                                                           ((Ascii (false,
-                                                           false, true,
-                                                           false, true, true,
-                                                           true, false)),
-                                                           (String ((Ascii
-                                                           (false, true,
-                                                           false, false,
-                                                           true, true, true,
-                                                           false)), (String
-                                                           ((Ascii (true,
-                                                           false, false,
-                                                           true, false, true,
-                                                           true, false)),
-                                                           (String ((Ascii
-                                                           (false, true,
-                                                           true, true, false,
-                                                           true, true,
-                                                           false)), (String
-                                                           ((Ascii (true,
-                                                           true, true, false,
-                                                           false, true, true,
-                                                           false)), (String
-                                                           ((Ascii (false,
-                                                           true, true, false,
-                                                           false, false,
-                                                           true, false)),
-                                                           (String ((Ascii
-                                                           (true, false,
-                                                           false, true,
-                                                           false, true, true,
-                                                           false)), (String
-                                                           ((Ascii (true,
-                                                           false, true,
-                                                           false, false,
-                                                           true, true,
-                                                           false)), (String
-                                                           ((Ascii (false,
-                                                           false, true, true,
-                                                           false, true, true,
-                                                           false)), (String
-                                                           ((Ascii (false,
-                                                           false, true,
-                                                           false, false,
-                                                           true, true,
-                                                           false)),
-                                                           EmptyString)))))))))))))))))))))))))))))))) :: [])) :: (
-    (mkcut (S (S (S (S (S (S (S (S (S (S (S O))))))))))) (S (S (S (S (S (S (S
-      (S (S (S (S (S O)))))))))))) (String ((Ascii (true, true, false, false,
-      false, false, true, false)), (String ((Ascii (false, false, false,
-      true, false, true, true, false)), (String ((Ascii (true, false, true,
-      false, false, true, true, false)), (String ((Ascii (true, true, false,
-      false, false, true, true, false)), (String ((Ascii (true, true, false,
-      true, false, true, true, false)), (String ((Ascii (false, false, true,
-      false, false, false, true, false)), (String ((Ascii (true, false,
-      false, true, false, true, true, false)), (String ((Ascii (true, true,
-      true, false, false, true, true, false)), (String ((Ascii (true, false,
-      false, true, false, true, true, false)), (String ((Ascii (false, false,
-      true, false, true, true, true, false)), EmptyString))))))))))))))))))))
-      ((String ((Ascii (false, false, false, false, true, true, true,
-      false)), (String ((Ascii (true, false, false, false, false, true, true,
-      false)), (String ((Ascii (false, true, false, false, true, true, true,
-      false)), (String ((Ascii (true, true, false, false, true, true, true,
-      false)), (String ((Ascii (true, false, true, false, false, true, true,
-      false)), (String ((Ascii (true, true, false, false, true, false, true,
-      false)), (String ((Ascii (false, false, true, false, true, true, true,
-      false)), (String ((Ascii (false, true, false, false, true, true, true,
-      false)), (String ((Ascii (true, false, false, true, false, true, true,
-      false)), (String ((Ascii (false, true, true, true, false, true, true,
-      false)), (String ((Ascii (true, true, true, false, false, true, true,
-      false)), (String ((Ascii (false, true, true, false, false, false, true,
-      false)), (String ((Ascii (true, false, false, true, false, true, true,
-      false)), (String ((Ascii (true, false, true, false, false, true, true,
-      false)), (String ((Ascii (false, false, true, true, false, true, true,
-      false)), (String ((Ascii (false, false, true, false, false, true, true,
-      false)), EmptyString)))))))))))))))))))))))))))))))) :: [])) :: (
-    (mkcut (S (S (S (S (S (S (S (S (S (S (S (S O)))))))))))) (S (S (S (S (S
-      (S (S (S (S (S (S (S (S (S (S (S (S (S (S (S (S (S (S (S (S (S (S
-      O))))))))))))))))))))))))))) (String ((Ascii (false, false, true,
-      false, false, false, true, false)), (String ((Ascii (false, true, true,
-      false, false, false, true, false)), (String ((Ascii (true, false,
-      false, true, false, false, true, false)), (String ((Ascii (true, false,
-      false, false, false, false, true, false)), (String ((Ascii (true, true,
-      false, false, false, true, true, false)), (String ((Ascii (true, true,
-      false, false, false, true, true, false)), (String ((Ascii (true, true,
-      true, true, false, true, true, false)), (String ((Ascii (true, false,
-      true, false, true, true, true, false)), (String ((Ascii (false, true,
-      true, true, false, true, true, false)), (String ((Ascii (false, false,
-      true, false, true, true, true, false)), (String ((Ascii (false, true,
-      true, true, false, false, true, false)), (String ((Ascii (true, false,
-      true, false, true, true, true, false)), (String ((Ascii (true, false,
-      true, true, false, true, true, false)), (String ((Ascii (false, true,
-      false, false, false, true, true, false)), (String ((Ascii (true, false,
-      true, false, false, true, true, false)), (String ((Ascii (false, true,
-      false, false, true, true, true, false)),
-      EmptyString)))))))))))))))))))))))))))))))) []) :: ((mkcut (S (S (S (S
-                                                            (S (S (S (S (S (S
-                                                            (S (S (S (S (S (S
-                                                            (S (S (S (S (S (S
-                                                            (S (S (S (S (S
-                                                            O)))))))))))))))))))))))))))
-                                                            (S (S (S (S (S (S
-                                                            (S (S (S (S (S (S
-                                                            (S (S (S (S (S (S
-                                                            (S (S (S (S (S (S
-                                                            (S (S (S (S (S (S
-                                                            (S (S (S (S (S (S
-                                                            (S (S (S
-                                                            O)))))))))))))))))))))))))))))))))))))))
-                                                            (String ((Ascii
-                                                            (true, false,
-                                                            false, false,
-                                                            false, false,
-                                                            true, false)),
-                                                            (String ((Ascii
-                                                            (true, false,
-                                                            true, true,
-                                                            false, true,
-                                                            true, false)),
-                                                            (String ((Ascii
-                                                            (true, true,
-                                                            true, true,
-                                                            false, true,
-                                                            true, false)),
-                                                            (String ((Ascii
-                                                            (true, false,
-                                                            true, false,
-                                                            true, true, true,
-                                                            false)), (String
-                                                            ((Ascii (false,
-                                                            true, true, true,
-                                                            false, true,
-                                                            true, false)),
-                                                            (String ((Ascii
-                                                            (false, false,
-                                                            true, false,
-                                                            true, true, true,
-                                                            false)),
-                                                            EmptyString))))))))))))
-                                                            ((String ((Ascii
-                                                            (false, false,
-                                                            false, false,
-                                                            true, true, true,
-                                                            false)), (String
-                                                            ((Ascii (true,
-                                                            false, false,
-                                                            false, false,
-                                                            true, true,
-                                                            false)), (String
-                                                            ((Ascii (false,
-                                                            true, false,
-                                                            false, true,
-                                                            true, true,
-                                                            false)), (String
-                                                            ((Ascii (true,
-                                                            true, false,
-                                                            false, true,
-                                                            true, true,
-                                                            false)), (String
-                                                            ((Ascii (true,
-                                                            false, true,
-                                                            false, false,
-                                                            true, true,
-                                                            false)), (String
-                                                            ((Ascii (false,
-                                                            true, true, true,
-                                                            false, false,
-                                                            true, false)),
-                                                            (String ((Ascii
-                                                            (true, false,
-                                                            true, false,
-                                                            true, true, true,
-                                                            false)), (String
-                                                            ((Ascii (true,
-                                                            false, true,
-                                                            true, false,
-                                                            true, true,
-                                                            false)), (String
-                                                            ((Ascii (false,
-                                                            true, true,
-                                                            false, false,
-                                                            false, true,
-                                                            false)), (String
-                                                            ((Ascii (true,
-                                                            false, false,
-                                                            true, false,
-                                                            true, true,
-                                                            false)), (String
-                                                            ((Ascii (true,
-                                                            false, true,
-                                                            false, false,
-                                                            true, true,
-                                                            false)), (String
-                                                            ((Ascii (false,
-                                                            false, true,
-                                                            true, false,
-                                                            true, true,
-                                                            false)), (String
-                                                            ((Ascii (false,
-                                                            false, true,
-                                                            false, false,
-                                                            true, true,
-                                                            false)),
-                                                            EmptyString)))))))))))))))))))))))))) :: [])) :: (
-    (mkcut (S (S (S (S (S (S (S (S (S (S (S (S (S (S (S (S (S (S (S (S (S (S
-      (S (S (S (S (S (S (S (S (S (S (S (S (S (S (S (S (S
-      O))))))))))))))))))))))))))))))))))))))) (S (S (S (S (S (S (S (S (S (S
-      (S (S (S (S (S (S (S (S (S (S (S (S (S (S (S (S (S (S (S (S (S (S (S (S
-      (S (S (S (S (S (S (S (S (S (S (S (S (S (S
-      O)))))))))))))))))))))))))))))))))))))))))))))))) (String ((Ascii
-      (true, false, false, false, false, false, true, false)), (String
-      ((Ascii (false, false, true, false, false, true, true, false)), (String
-      ((Ascii (false, true, true, false, true, true, true, false)), (String
-      ((Ascii (true, false, false, true, false, true, true, false)), (String
-      ((Ascii (true, true, false, false, false, true, true, false)), (String
-      ((Ascii (true, false, true, false, false, true, true, false)), (String
-      ((Ascii (false, true, false, false, true, false, true, false)), (String
-      ((Ascii (true, true, true, true, false, true, true, false)), (String
-      ((Ascii (true, false, true, false, true, true, true, false)), (String
-      ((Ascii (false, false, true, false, true, true, true, false)), (String
-      ((Ascii (true, false, false, true, false, true, true, false)), (String
-      ((Ascii (false, true, true, true, false, true, true, false)), (String
-      ((Ascii (true, true, true, false, false, true, true, false)), (String
-      ((Ascii (false, true, true, true, false, false, true, false)), (String
-      ((Ascii (true, false, true, false, true, true, true, false)), (String
-      ((Ascii (true, false, true, true, false, true, true, false)), (String
-      ((Ascii (false, true, false, false, false, true, true, false)), (String
-      ((Ascii (true, false, true, false, false, true, true, false)), (String
-      ((Ascii (false, true, false, false, true, true, true, false)),
-      EmptyString)))))))))))))))))))))))))))))))))))))) ((String ((Ascii
-      (false, false, false, false, true, true, true, false)), (String ((Ascii
-      (true, false, false, false, false, true, true, false)), (String ((Ascii
-      (false, true, false, false, true, true, true, false)), (String ((Ascii
-      (true, true, false, false, true, true, true, false)), (String ((Ascii
-      (true, false, true, false, false, true, true, false)), (String ((Ascii
-      (true, true, false, false, true, false, true, false)), (String ((Ascii
-      (false, false, true, false, true, true, true, false)), (String ((Ascii
-      (false, true, false, false, true, true, true, false)), (String ((Ascii
-      (true, false, false, true, false, true, true, false)), (String ((Ascii
-      (false, true, true, true, false, true, true, false)), (String ((Ascii
-      (true, true, true, false, false, true, true, false)), (String ((Ascii
-      (false, true, true, false, false, false, true, false)), (String ((Ascii
-      (true, false, false, true, false, true, true, false)), (String ((Ascii
-      (true, false, true, false, false, true, true, false)), (String ((Ascii
-      (false, false, true, true, false, true, true, false)), (String ((Ascii
-      (false, false, true, false, false, true, true, false)),
-      EmptyString)))))))))))))))))))))))))))))))) :: [])) :: ((mkcut (S (S (S
-                                                                (S (S (S (S
-                                                                (S (S (S (S
-                                                                (S (S (S (S
-                                                                (S (S (S (S
-                                                                (S (S (S (S
-                                                                (S (S (S (S
-                                                                (S (S (S (S
-                                                                (S (S (S (S
-                                                                (S (S (S (S
-                                                                (S (S (S (S
-                                                                (S (S (S (S
-                                                                (S
-                                                                O))))))))))))))))))))))))))))))))))))))))))))))))
-                                                                (S (S (S (S
-                                                                (S (S (S (S
-                                                                (S (S (S (S
-                                                                (S (S (S (S
-                                                                (S (S (S (S
-                                                                (S (S (S (S
-                                                                (S (S (S (S
-                                                                (S (S (S (S
-                                                                (S (S (S (S
-                                                                (S (S (S (S
-                                                                (S (S (S (S
-                                                                (S (S (S (S
-                                                                (S (S (S (S
-                                                                (S
-                                                                O)))))))))))))))))))))))))))))))))))))))))))))))))))))
-                                                                (String
-                                                                ((Ascii
-                                                                (false, true,
-                                                                true, false,
-                                                                false, false,
-                                                                true,
-                                                                false)),
-                                                                (String
-                                                                ((Ascii
-                                                                (true, false,
-                                                                false, true,
-                                                                false, true,
-                                                                true,
-                                                                false)),
-                                                                (String
-                                                                ((Ascii
-                                                                (false,
-                                                                false, true,
-                                                                true, false,
-                                                                true, true,
-                                                                false)),
-                                                                (String
-                                                                ((Ascii
-                                                                (true, false,
-                                                                true, false,
-                                                                false, true,
-                                                                true,
-                                                                false)),
-                                                                (String
-                                                                ((Ascii
-                                                                (true, false,
-                                                                false, true,
-                                                                false, false,
-                                                                true,
-                                                                false)),
-                                                                (String
-                                                                ((Ascii
-                                                                (false,
-                                                                false, true,
-                                                                false, false,
-                                                                true, true,
-                                                                false)),
-                                                                (String
-                                                                ((Ascii
-                                                                (true, false,
-                                                                true, false,
-                                                                false, true,
-                                                                true,
-                                                                false)),
-                                                                (String
-                                                                ((Ascii
-                                                                (false, true,
-                                                                true, true,
-                                                                false, true,
-                                                                true,
-                                                                false)),
-                                                                (String
-                                                                ((Ascii
-                                                                (false,
-                                                                false, true,
-                                                                false, true,
-                                                                true, true,
-                                                                false)),
-                                                                (String
-                                                                ((Ascii
-                                                                (true, false,
-                                                                false, true,
-                                                                false, true,
-                                                                true,
-                                                                false)),
-                                                                (String
-                                                                ((Ascii
-                                                                (false, true,
-                                                                true, false,
-                                                                false, true,
-                                                                true,
-                                                                false)),
-                                                                (String
-                                                                ((Ascii
-                                                                (true, false,
-                                                                false, true,
-                                                                false, true,
-                                                                true,
-                                                                false)),
-                                                                (String
-                                                                ((Ascii
-                                                                (true, true,
-                                                                false, false,
-                                                                false, true,
-                                                                true,
-                                                                false)),
-                                                                (String
-                                                                ((Ascii
-                                                                (true, false,
-                                                                false, false,
-                                                                false, true,
-                                                                true,
-                                                                false)),
-                                                                (String
-                                                                ((Ascii
-                                                                (false,
-                                                                false, true,
-                                                                false, true,
-                                                                true, true,
-                                                                false)),
-                                                                (String
-                                                                ((Ascii
-                                                                (true, false,
-                                                                false, true,
-                                                                false, true,
-                                                                true,
-                                                                false)),
-                                                                (String
-                                                                ((Ascii
-                                                                (true, true,
-                                                                true, true,
-                                                                false, true,
-                                                                true,
-                                                                false)),
-                                                                (String
-                                                                ((Ascii
-                                                                (false, true,
-                                                                true, true,
-                                                                false, true,
-                                                                true,
-                                                                false)),
-                                                                EmptyString))))))))))))))))))))))))))))))))))))
-                                                                ((String
-                                                                ((Ascii
-                                                                (false,
-                                                                false, false,
-                                                                false, true,
-                                                                true, true,
-                                                                false)),
-                                                                (String
-                                                                ((Ascii
-                                                                (true, false,
-                                                                false, false,
-                                                                false, true,
-                                                                true,
-                                                                false)),
-                                                                (String
-                                                                ((Ascii
-                                                                (false, true,
-                                                                false, false,
-                                                                true, true,
-                                                                true,
-                                                                false)),
-                                                                (String
-                                                                ((Ascii
-                                                                (true, true,
-                                                                false, false,
-                                                                true, true,
-                                                                true,
-                                                                false)),
-                                                                (String
-                                                                ((Ascii
-                                                                (true, false,
-                                                                true, false,
-                                                                false, true,
-                                                                true,
-                                                                false)),
-                                                                (String
-                                                                ((Ascii
-                                                                (true, true,
-                                                                false, false,
-                                                                true, false,
-                                                                true,
-                                                                false)),
-                                                                (String
-                                                                ((Ascii
-                                                                (false,
-                                                                false, true,
-                                                                false, true,
-                                                                true, true,
-                                                                false)),
-                                                                (String
-                                                                ((Ascii
-                                                                (false, true,
-                                                                false, false,
-                                                                true, true,
-                                                                true,
-                                                                false)),
-                                                                (String
-                                                                ((Ascii
-                                                                (true, false,
-                                                                false, true,
-                                                                false, true,
-                                                                true,
-                                                                false)),
-                                                                (String
-                                                                ((Ascii
-                                                                (false, true,
-                                                                true, true,
-                                                                false, true,
-                                                                true,
-                                                                false)),
-                                                                (String
-                                                                ((Ascii
-                                                                (true, true,
-                                                                true, false,
-                                                                false, true,
-                                                                true,
-                                                                false)),
-                                                                (String
-                                                                ((Ascii
-                                                                (false, true,
-                                                                true, false,
-                                                                false, false,
-                                                                true,
-                                                                false)),
-                                                                (String
-                                                                ((Ascii
-                                                                (true, false,
-                                                                false, true,
-                                                                false, true,
-                                                                true,
-                                                                false)),
-                                                                (String
-                                                                ((Ascii
-                                                                (true, false,
-                                                                true, false,
-                                                                false, true,
-                                                                true,
-                                                                false)),
-                                                                (String
-                                                                ((Ascii
-                                                                (false,
-                                                                false, true,
-                                                                true, false,
-                                                                true, true,
-                                                                false)),
-                                                                (String
-                                                                ((Ascii
-                                                                (false,
-                                                                false, true,
-                                                                false, false,
-                                                                true, true,
-                                                                false)),
-                                                                EmptyString)))))))))))))))))))))))))))))))) :: [])) :: (
-    (mkcut (S (S (S (S (S (S (S (S (S (S (S (S (S (S (S (S (S (S (S (S (S (S
-      (S (S (S (S (S (S (S (S (S (S (S (S (S (S (S (S (S (S (S (S (S (S (S (S
-      (S (S (S (S (S (S (S
-      O))))))))))))))))))))))))))))))))))))))))))))))))))))) (S (S (S (S (S
-      (S (S (S (S (S (S (S (S (S (S (S (S (S (S (S (S (S (S (S (S (S (S (S (S
-      (S (S (S (S (S (S (S (S (S (S (S (S (S (S (S (S (S (S (S (S (S (S (S (S
-      (S O)))))))))))))))))))))))))))))))))))))))))))))))))))))) (String
-      ((Ascii (true, false, false, false, false, false, true, false)),
-      (String ((Ascii (true, true, false, false, false, false, true, false)),
-      (String ((Ascii (false, false, false, true, false, false, true,
-      false)), (String ((Ascii (true, true, true, true, false, false, true,
-      false)), (String ((Ascii (false, false, false, false, true, true, true,
-      false)), (String ((Ascii (true, false, true, false, false, true, true,
-      false)), (String ((Ascii (false, true, false, false, true, true, true,
-      false)), (String ((Ascii (true, false, false, false, false, true, true,
-      false)), (String ((Ascii (false, false, true, false, true, true, true,
-      false)), (String ((Ascii (true, true, true, true, false, true, true,
-      false)), (String ((Ascii (false, true, false, false, true, true, true,
-      false)), (String ((Ascii (false, false, true, false, false, false,
-      true, false)), (String ((Ascii (true, false, false, false, false, true,
-      true, false)), (String ((Ascii (false, false, true, false, true, true,
-      true, false)), (String ((Ascii (true, false, false, false, false, true,
-      true, false)), EmptyString)))))))))))))))))))))))))))))) ((String
-      ((Ascii (false, false, false, false, true, true, true, false)), (String
-      ((Ascii (true, false, false, false, false, true, true, false)), (String
-      ((Ascii (false, true, false, false, true, true, true, false)), (String
-      ((Ascii (true, true, false, false, true, true, true, false)), (String
-      ((Ascii (true, false, true, false, false, true, true, false)), (String
-      ((Ascii (true, true, false, false, true, false, true, false)), (String
-      ((Ascii (false, false, true, false, true, true, true, false)), (String
-      ((Ascii (false, true, false, false, true, true, true, false)), (String
-      ((Ascii (true, false, false, true, false, true, true, false)), (String
-      ((Ascii (false, true, true, true, false, true, true, false)), (String
-      ((Ascii (true, true, true, false, false, true, true, false)), (String
-      ((Ascii (false, true, true, false, false, false, true, false)), (String
-      ((Ascii (true, false, false, true, false, true, true, false)), (String
-      ((Ascii (true, false, true, false, false, true, true, false)), (String
-      ((Ascii (false, false, true, true, false, true, true, false)), (String
-      ((Ascii (false, false, true, false, false, true, true, false)),
-      EmptyString)))))))))))))))))))))))))))))))) :: [])) :: ((mkcut (S (S (S
-                                                                (S (S (S (S
-                                                                (S (S (S (S
-                                                                (S (S (S (S
-                                                                (S (S (S (S
-                                                                (S (S (S (S
-                                                                (S (S (S (S
-                                                                (S (S (S (S
-                                                                (S (S (S (S
-                                                                (S (S (S (S
-                                                                (S (S (S (S
-                                                                (S (S (S (S
-                                                                (S (S (S (S
-                                                                (S (S (S
-                                                                O))))))))))))))))))))))))))))))))))))))))))))))))))))))
-                                                                (S (S (S (S
-                                                                (S (S (S (S
-                                                                (S (S (S (S
-                                                                (S (S (S (S
-                                                                (S (S (S (S
-                                                                (S (S (S (S
-                                                                (S (S (S (S
-                                                                (S (S (S (S
-                                                                (S (S (S (S
-                                                                (S (S (S (S
-                                                                (S (S (S (S
-                                                                (S (S (S (S
-                                                                (S (S (S (S
-                                                                (S (S (S (S
-                                                                (S (S (S (S
-                                                                (S (S (S (S
-                                                                (S (S (S (S
-                                                                (S (S (S (S
-                                                                (S (S (S (S
-                                                                O))))))))))))))))))))))))))))))))))))))))))))))))))))))))))))))))))))))))))))
-                                                                (String
-                                                                ((Ascii
-                                                                (true, false,
-                                                                false, true,
-                                                                false, false,
-                                                                true,
-                                                                false)),
-                                                                (String
-                                                                ((Ascii
-                                                                (false, true,
-                                                                true, true,
-                                                                false, true,
-                                                                true,
-                                                                false)),
-                                                                (String
-                                                                ((Ascii
-                                                                (false,
-                                                                false, true,
-                                                                false, false,
-                                                                true, true,
-                                                                false)),
-                                                                (String
-                                                                ((Ascii
-                                                                (true, false,
-                                                                false, true,
-                                                                false, true,
-                                                                true,
-                                                                false)),
-                                                                (String
-                                                                ((Ascii
-                                                                (false, true,
-                                                                true, false,
-                                                                true, true,
-                                                                true,
-                                                                false)),
-                                                                (String
-                                                                ((Ascii
-                                                                (true, false,
-                                                                false, true,
-                                                                false, true,
-                                                                true,
-                                                                false)),
-                                                                (String
-                                                                ((Ascii
-                                                                (false,
-                                                                false, true,
-                                                                false, false,
-                                                                true, true,
-                                                                false)),
-                                                                (String
-                                                                ((Ascii
-                                                                (true, false,
-                                                                true, false,
-                                                                true, true,
-                                                                true,
-                                                                false)),
-                                                                (String
-                                                                ((Ascii
-                                                                (true, false,
-                                                                false, false,
-                                                                false, true,
-                                                                true,
-                                                                false)),
-                                                                (String
-                                                                ((Ascii
-                                                                (false,
-                                                                false, true,
-                                                                true, false,
-                                                                true, true,
-                                                                false)),
-                                                                (String
-                                                                ((Ascii
-                                                                (false, true,
-                                                                true, true,
-                                                                false, false,
-                                                                true,
-                                                                false)),
-                                                                (String
-                                                                ((Ascii
-                                                                (true, false,
-                                                                false, false,
-                                                                false, true,
-                                                                true,
-                                                                false)),
-                                                                (String
-                                                                ((Ascii
-                                                                (true, false,
-                                                                true, true,
-                                                                false, true,
-                                                                true,
-                                                                false)),
-                                                                (String
-                                                                ((Ascii
-                                                                (true, false,
-                                                                true, false,
-                                                                false, true,
-                                                                true,
-                                                                false)),
-                                                                EmptyString))))))))))))))))))))))))))))
-                                                                []) :: (
-    (mkcut (S (S (S (S (S (S (S (S (S (S (S (S (S (S (S (S (S (S (S (S (S (S
-      (S (S (S (S (S (S (S (S (S (S (S (S (S (S (S (S (S (S (S (S (S (S (S (S
-      (S (S (S (S (S (S (S (S (S (S (S (S (S (S (S (S (S (S (S (S (S (S (S (S
-      (S (S (S (S (S (S
-      O))))))))))))))))))))))))))))))))))))))))))))))))))))))))))))))))))))))))))))
-      (S (S (S (S (S (S (S (S (S (S (S (S (S (S (S (S (S (S (S (S (S (S (S (S
-      (S (S (S (S (S (S (S (S (S (S (S (S (S (S (S (S (S (S (S (S (S (S (S (S
-      (S (S (S (S (S (S (S (S (S (S (S (S (S (S (S (S (S (S (S (S (S (S (S (S
-      (S (S (S (S (S (S
-      O))))))))))))))))))))))))))))))))))))))))))))))))))))))))))))))))))))))))))))))
-      (String ((Ascii (false, false, true, false, false, false, true,
-      false)), (String ((Ascii (true, false, false, true, false, true, true,
-      false)), (String ((Ascii (true, true, false, false, true, true, true,
-      false)), (String ((Ascii (true, true, false, false, false, true, true,
-      false)), (String ((Ascii (false, true, false, false, true, true, true,
-      false)), (String ((Ascii (true, false, true, false, false, true, true,
-      false)), (String ((Ascii (false, false, true, false, true, true, true,
-      false)), (String ((Ascii (true, false, false, true, false, true, true,
-      false)), (String ((Ascii (true, true, true, true, false, true, true,
-      false)), (String ((Ascii (false, true, true, true, false, true, true,
-      false)), (String ((Ascii (true, false, false, false, false, true, true,
-      false)), (String ((Ascii (false, true, false, false, true, true, true,
-      false)), (String ((Ascii (true, false, false, true, true, true, true,
-      false)), (String ((Ascii (false, false, true, false, false, false,
-      true, false)), (String ((Ascii (true, false, false, false, false, true,
-      true, false)), (String ((Ascii (false, false, true, false, true, true,
-      true, false)), (String ((Ascii (true, false, false, false, false, true,
-      true, false)), EmptyString)))))))))))))))))))))))))))))))))) []) :: (
-    (mkcut (S (S (S (S (S (S (S (S (S (S (S (S (S (S (S (S (S (S (S (S (S (S
-      (S (S (S (S (S (S (S (S (S (S (S (S (S (S (S (S (S (S (S (S (S (S (S (S
-      (S (S (S (S (S (S (S (S (S (S (S (S (S (S (S (S (S (S (S (S (S (S (S (S
-      (S (S (S (S (S (S (S (S
-      O))))))))))))))))))))))))))))))))))))))))))))))))))))))))))))))))))))))))))))))
-      (S (S (S (S (S (S (S (S (S (S (S (S (S (S (S (S (S (S (S (S (S (S (S (S
-      (S (S (S (S (S (S (S (S (S (S (S (S (S (S (S (S (S (S (S (S (S (S (S (S
-      (S (S (S (S (S (S (S (S (S (S (S (S (S (S (S (S (S (S (S (S (S (S (S (S
-      (S (S (S (S (S (S (S
-      O)))))))))))))))))))))))))))))))))))))))))))))))))))))))))))))))))))))))))))))))
-      (String ((Ascii (true, false, false, false, false, false, true,
-      false)), (String ((Ascii (false, false, true, false, false, true, true,
-      false)), (String ((Ascii (false, false, true, false, false, true, true,
-      false)), (String ((Ascii (true, false, true, false, false, true, true,
-      false)), (String ((Ascii (false, true, true, true, false, true, true,
-      false)), (String ((Ascii (false, false, true, false, false, true, true,
-      false)), (String ((Ascii (true, false, false, false, false, true, true,
-      false)), (String ((Ascii (false, true, false, false, true, false, true,
-      false)), (String ((Ascii (true, false, true, false, false, true, true,
-      false)), (String ((Ascii (true, true, false, false, false, true, true,
-      false)), (String ((Ascii (true, true, true, true, false, true, true,
-      false)), (String ((Ascii (false, true, false, false, true, true, true,
-      false)), (String ((Ascii (false, false, true, false, false, true, true,
-      false)), (String ((Ascii (true, false, false, true, false, false, true,
-      false)), (String ((Ascii (false, true, true, true, false, true, true,
-      false)), (String ((Ascii (false, false, true, false, false, true, true,
-      false)), (String ((Ascii (true, false, false, true, false, true, true,
-      false)), (String ((Ascii (true, true, false, false, false, true, true,
-      false)), (String ((Ascii (true, false, false, false, false, true, true,
-      false)), (String ((Ascii (false, false, true, false, true, true, true,
-      false)), (String ((Ascii (true, true, true, true, false, true, true,
-      false)), (String ((Ascii (false, true, false, false, true, true, true,
-      false)), EmptyString))))))))))))))))))))))))))))))))))))))))))))
-      ((String ((Ascii (false, false, false, false, true, true, true,
-      false)), (String ((Ascii (true, false, false, false, false, true, true,
-      false)), (String ((Ascii (false, true, false, false, true, true, true,
-      false)), (String ((Ascii (true, true, false, false, true, true, true,
-      false)), (String ((Ascii (true, false, true, false, false, true, true,
-      false)), (String ((Ascii (false, true, true, true, false, false, true,
-      false)), (String ((Ascii (true, false, true, false, true, true, true,
-      false)), (String ((Ascii (true, false, true, true, false, true, true,
-      false)), (String ((Ascii (false, true, true, false, false, false, true,
-      false)), (String ((Ascii (true, false, false, true, false, true, true,
-      false)), (String ((Ascii (true, false, true, false, false, true, true,
-      false)), (String ((Ascii (false, false, true, true, false, true, true,
-      false)), (String ((Ascii (false, false, true, false, false, true, true,
-      false)), EmptyString)))))))))))))))))))))))))) :: [])) :: ((mkcut (S (S
-                                                                   (S (S (S
-                                                                   (S (S (S
-                                                                   (S (S (S
-                                                                   (S (S (S
-                                                                   (S (S (S
-                                                                   (S (S (S
-                                                                   (S (S (S
-                                                                   (S (S (S
-                                                                   (S (S (S
-                                                                   (S (S (S
-                                                                   (S (S (S
-                                                                   (S (S (S
-                                                                   (S (S (S
-                                                                   (S (S (S
-                                                                   (S (S (S
-                                                                   (S (S (S
-                                                                   (S (S (S
-                                                                   (S (S (S
-                                                                   (S (S (S
-                                                                   (S (S (S
-                                                                   (S (S (S
-                                                                   (S (S (S
-                                                                   (S (S (S
-                                                                   (S (S (S
-                                                                   (S (S (S
-                                                                   (S (S
-                                                                   O)))))))))))))))))))))))))))))))))))))))))))))))))))))))))))))))))))))))))))))))
-                                                                   (S (S (S
-                                                                   (S (S (S
-                                                                   (S (S (S
-                                                                   (S (S (S
-                                                                   (S (S (S
-                                                                   (S (S (S
-                                                                   (S (S (S
-                                                                   (S (S (S
-                                                                   (S (S (S
-                                                                   (S (S (S
-                                                                   (S (S (S
-                                                                   (S (S (S
-                                                                   (S (S (S
-                                                                   (S (S (S
-                                                                   (S (S (S
-                                                                   (S (S (S
-                                                                   (S (S (S
-                                                                   (S (S (S
-                                                                   (S (S (S
-                                                                   (S (S (S
-                                                                   (S (S (S
-                                                                   (S (S (S
-                                                                   (S (S (S
-                                                                   (S (S (S
-                                                                   (S (S (S
-                                                                   (S (S (S
-                                                                   (S (S (S
-                                                                   (S (S (S
-                                                                   (S (S (S
-                                                                   O)))))))))))))))))))))))))))))))))))))))))))))))))))))))))))))))))))))))))))))))))))))))
-                                                                   (String
-                                                                   ((Ascii
-                                                                   (true,
-                                                                   false,
-                                                                   false,
-                                                                   false,
-                                                                   false,
-                                                                   false,
-                                                                   true,
-                                                                   false)),
-                                                                   (String
-                                                                   ((Ascii
-                                                                   (true,
-                                                                   true,
-                                                                   false,
-                                                                   false,
-                                                                   false,
-                                                                   false,
-                                                                   true,
-                                                                   false)),
-                                                                   (String
-                                                                   ((Ascii
-                                                                   (false,
-                                                                   false,
-                                                                   false,
-                                                                   true,
-                                                                   false,
-                                                                   false,
-                                                                   true,
-                                                                   false)),
-                                                                   (String
-                                                                   ((Ascii
-                                                                   (true,
-                                                                   true,
-                                                                   true,
-                                                                   true,
-                                                                   false,
-                                                                   false,
-                                                                   true,
-                                                                   false)),
-                                                                   (String
-                                                                   ((Ascii
-                                                                   (false,
-                                                                   false,
-                                                                   false,
-                                                                   false,
-                                                                   true,
-                                                                   true,
-                                                                   true,
-                                                                   false)),
-                                                                   (String
-                                                                   ((Ascii
-                                                                   (true,
-                                                                   false,
-                                                                   true,
-                                                                   false,
-                                                                   false,
-                                                                   true,
-                                                                   true,
-                                                                   false)),
-                                                                   (String
-                                                                   ((Ascii
-                                                                   (false,
-                                                                   true,
-                                                                   false,
-                                                                   false,
-                                                                   true,
-                                                                   true,
-                                                                   true,
-                                                                   false)),
-                                                                   (String
-                                                                   ((Ascii
-                                                                   (true,
-                                                                   false,
-                                                                   false,
-                                                                   false,
-                                                                   false,
-                                                                   true,
-                                                                   true,
-                                                                   false)),
-                                                                   (String
-                                                                   ((Ascii
-                                                                   (false,
-                                                                   false,
-                                                                   true,
-                                                                   false,
-                                                                   true,
-                                                                   true,
-                                                                   true,
-                                                                   false)),
-                                                                   (String
-                                                                   ((Ascii
-                                                                   (true,
-                                                                   true,
-                                                                   true,
-                                                                   true,
-                                                                   false,
-                                                                   true,
-                                                                   true,
-                                                                   false)),
-                                                                   (String
-                                                                   ((Ascii
-                                                                   (false,
-                                                                   true,
-                                                                   false,
-                                                                   false,
-                                                                   true,
-                                                                   true,
-                                                                   true,
-                                                                   false)),
-                                                                   (String
-                                                                   ((Ascii
-                                                                   (false,
-                                                                   true,
-                                                                   false,
-                                                                   false,
-                                                                   true,
-                                                                   false,
-                                                                   true,
-                                                                   false)),
-                                                                   (String
-                                                                   ((Ascii
-                                                                   (true,
-                                                                   true,
-                                                                   true,
-                                                                   true,
-                                                                   false,
-                                                                   true,
-                                                                   true,
-                                                                   false)),
-                                                                   (String
-                                                                   ((Ascii
-                                                                   (true,
-                                                                   false,
-                                                                   true,
-                                                                   false,
-                                                                   true,
-                                                                   true,
-                                                                   true,
-                                                                   false)),
-                                                                   (String
-                                                                   ((Ascii
-                                                                   (false,
-                                                                   false,
-                                                                   true,
-                                                                   false,
-                                                                   true,
-                                                                   true,
-                                                                   true,
-                                                                   false)),
-                                                                   (String
-                                                                   ((Ascii
-                                                                   (true,
-                                                                   false,
-                                                                   false,
-                                                                   true,
-                                                                   false,
-                                                                   true,
-                                                                   true,
-                                                                   false)),
-                                                                   (String
-                                                                   ((Ascii
-                                                                   (false,
-                                                                   true,
-                                                                   true,
-                                                                   true,
-                                                                   false,
-                                                                   true,
-                                                                   true,
-                                                                   false)),
-                                                                   (String
-                                                                   ((Ascii
-                                                                   (true,
-                                                                   true,
-                                                                   true,
-                                                                   false,
-                                                                   false,
-                                                                   true,
-                                                                   true,
-                                                                   false)),
-                                                                   (String
-                                                                   ((Ascii
-                                                                   (false,
-                                                                   true,
-                                                                   true,
-                                                                   true,
-                                                                   false,
-                                                                   false,
-                                                                   true,
-                                                                   false)),
-                                                                   (String
-                                                                   ((Ascii
-                                                                   (true,
-                                                                   false,
-                                                                   true,
-                                                                   false,
-                                                                   true,
-                                                                   true,
-                                                                   true,
-                                                                   false)),
-                                                                   (String
-                                                                   ((Ascii
-                                                                   (true,
-                                                                   false,
-                                                                   true,
-                                                                   true,
-                                                                   false,
-                                                                   true,
-                                                                   true,
-                                                                   false)),
-                                                                   (String
-                                                                   ((Ascii
-                                                                   (false,
-                                                                   true,
-                                                                   false,
-                                                                   false,
-                                                                   false,
-                                                                   true,
-                                                                   true,
-                                                                   false)),
-                                                                   (String
-                                                                   ((Ascii
-                                                                   (true,
-                                                                   false,
-                                                                   true,
-                                                                   false,
-                                                                   false,
-                                                                   true,
-                                                                   true,
-                                                                   false)),
-                                                                   (String
-                                                                   ((Ascii
-                                                                   (false,
-                                                                   true,
-                                                                   false,
-                                                                   false,
-                                                                   true,
-                                                                   true,
-                                                                   true,
-                                                                   false)),
-                                                                   EmptyString))))))))))))))))))))))))))))))))))))))))))))))))
-                                                                   ((String
-                                                                   ((Ascii
-                                                                   (false,
-                                                                   false,
-                                                                   false,
-                                                                   false,
-                                                                   true,
-                                                                   true,
-                                                                   true,
-                                                                   false)),
-                                                                   (String
-                                                                   ((Ascii
-                                                                   (true,
-                                                                   false,
-                                                                   false,
-                                                                   false,
-                                                                   false,
-                                                                   true,
-                                                                   true,
-                                                                   false)),
-                                                                   (String
-                                                                   ((Ascii
-                                                                   (false,
-                                                                   true,
-                                                                   false,
-                                                                   false,
-                                                                   true,
-                                                                   true,
-                                                                   true,
-                                                                   false)),
-                                                                   (String
-                                                                   ((Ascii
-                                                                   (true,
-                                                                   true,
-                                                                   false,
-                                                                   false,
-                                                                   true,
-                                                                   true,
-                                                                   true,
-                                                                   false)),
-                                                                   (String
-                                                                   ((Ascii
-                                                                   (true,
-                                                                   false,
-                                                                   true,
-                                                                   false,
-                                                                   false,
-                                                                   true,
-                                                                   true,
-                                                                   false)),
-                                                                   (String
-                                                                   ((Ascii
-                                                                   (true,
-                                                                   true,
-                                                                   false,
-                                                                   false,
-                                                                   true,
-                                                                   false,
-                                                                   true,
-                                                                   false)),
-                                                                   (String
-                                                                   ((Ascii
-                                                                   (false,
-                                                                   false,
-                                                                   true,
-                                                                   false,
-                                                                   true,
-                                                                   true,
-                                                                   true,
-                                                                   false)),
-                                                                   (String
-                                                                   ((Ascii
-                                                                   (false,
-                                                                   true,
-                                                                   false,
-                                                                   false,
-                                                                   true,
-                                                                   true,
-                                                                   true,
-                                                                   false)),
-                                                                   (String
-                                                                   ((Ascii
-                                                                   (true,
-                                                                   false,
-                                                                   false,
-                                                                   true,
-                                                                   false,
-                                                                   true,
-                                                                   true,
-                                                                   false)),
-                                                                   (String
-                                                                   ((Ascii
-                                                                   (false,
-                                                                   true,
-                                                                   true,
-                                                                   true,
-                                                                   false,
-                                                                   true,
-                                                                   true,
-                                                                   false)),
-                                                                   (String
-                                                                   ((Ascii
-                                                                   (true,
-                                                                   true,
-                                                                   true,
-                                                                   false,
-                                                                   false,
-                                                                   true,
-                                                                   true,
-                                                                   false)),
-                                                                   (String
-                                                                   ((Ascii
-                                                                   (false,
-                                                                   true,
-                                                                   true,
-                                                                   false,
-                                                                   false,
-                                                                   false,
-                                                                   true,
-                                                                   false)),
-                                                                   (String
-                                                                   ((Ascii
-                                                                   (true,
-                                                                   false,
-                                                                   false,
-                                                                   true,
-                                                                   false,
-                                                                   true,
-                                                                   true,
-                                                                   false)),
-                                                                   (String
-                                                                   ((Ascii
-                                                                   (true,
-                                                                   false,
-                                                                   true,
-                                                                   false,
-                                                                   false,
-                                                                   true,
-                                                                   true,
-                                                                   false)),
-                                                                   (String
-                                                                   ((Ascii
-                                                                   (false,
-                                                                   false,
-                                                                   true,
-                                                                   true,
-                                                                   false,
-                                                                   true,
-                                                                   true,
-                                                                   false)),
-                                                                   (String
-                                                                   ((Ascii
-                                                                   (false,
-                                                                   false,
-                                                                   true,
-                                                                   false,
-                                                                   false,
-                                                                   true,
-                                                                   true,
-                                                                   false)),
-                                                                   EmptyString)))))))))))))))))))))))))))))))) :: [])) :: (
-    (mkcut (S (S (S (S (S (S (S (S (S (S (S (S (S (S (S (S (S (S (S (S (S (S
-      (S (S (S (S (S (S (S (S (S (S (S (S (S (S (S (S (S (S (S (S (S (S (S (S
-      (S (S (S (S (S (S (S (S (S (S (S (S (S (S (S (S (S (S (S (S (S (S (S (S
-      (S (S (S (S (S (S (S (S (S (S (S (S (S (S (S (S (S
-      O)))))))))))))))))))))))))))))))))))))))))))))))))))))))))))))))))))))))))))))))))))))))
-      (S (S (S (S (S (S (S (S (S (S (S (S (S (S (S (S (S (S (S (S (S (S (S (S
-      (S (S (S (S (S (S (S (S (S (S (S (S (S (S (S (S (S (S (S (S (S (S (S (S
-      (S (S (S (S (S (S (S (S (S (S (S (S (S (S (S (S (S (S (S (S (S (S (S (S
-      (S (S (S (S (S (S (S (S (S (S (S (S (S (S (S (S (S (S
-      O))))))))))))))))))))))))))))))))))))))))))))))))))))))))))))))))))))))))))))))))))))))))))
-      (String ((Ascii (false, true, false, true, false, false, true, false)),
-      (String ((Ascii (true, false, true, false, true, true, true, false)),
-      (String ((Ascii (false, false, true, true, false, true, true, false)),
-      (String ((Ascii (true, false, false, true, false, true, true, false)),
-      (String ((Ascii (true, false, false, false, false, true, true, false)),
-      (String ((Ascii (false, true, true, true, false, true, true, false)),
-      (String ((Ascii (false, false, true, false, false, false, true,
-      false)), (String ((Ascii (true, false, false, false, false, true, true,
-      false)), (String ((Ascii (true, false, false, true, true, true, true,
-      false)), EmptyString)))))))))))))))))) ((String ((Ascii (false, false,
-      false, false, true, true, true, false)), (String ((Ascii (true, false,
-      false, false, false, true, true, false)), (String ((Ascii (false, true,
-      false, false, true, true, true, false)), (String ((Ascii (true, true,
-      false, false, true, true, true, false)), (String ((Ascii (true, false,
-      true, false, false, true, true, false)), (String ((Ascii (false, true,
-      true, true, false, false, true, false)), (String ((Ascii (true, false,
-      true, false, true, true, true, false)), (String ((Ascii (true, false,
-      true, true, false, true, true, false)), (String ((Ascii (false, true,
-      true, false, false, false, true, false)), (String ((Ascii (true, false,
-      false, true, false, true, true, false)), (String ((Ascii (true, false,
-      true, false, false, true, true, false)), (String ((Ascii (false, false,
-      true, true, false, true, true, false)), (String ((Ascii (false, false,
-      true, false, false, true, true, false)),
-      EmptyString)))))))))))))))))))))))))) :: [])) :: ((mkcut (S (S (S (S (S
-                                                          (S (S (S (S (S (S
-                                                          (S (S (S (S (S (S
-                                                          (S (S (S (S (S (S
-                                                          (S (S (S (S (S (S
-                                                          (S (S (S (S (S (S
-                                                          (S (S (S (S (S (S
-                                                          (S (S (S (S (S (S
-                                                          (S (S (S (S (S (S
-                                                          (S (S (S (S (S (S
-                                                          (S (S (S (S (S (S
-                                                          (S (S (S (S (S (S
-                                                          (S (S (S (S (S (S
-                                                          (S (S (S (S (S (S
-                                                          (S (S (S (S (S (S
-                                                          (S
-                                                          O))))))))))))))))))))))))))))))))))))))))))))))))))))))))))))))))))))))))))))))))))))))))))
-                                                          (S (S (S (S (S (S
-                                                          (S (S (S (S (S (S
-                                                          (S (S (S (S (S (S
-                                                          (S (S (S (S (S (S
-                                                          (S (S (S (S (S (S
-                                                          (S (S (S (S (S (S
-                                                          (S (S (S (S (S (S
-                                                          (S (S (S (S (S (S
-                                                          (S (S (S (S (S (S
-                                                          (S (S (S (S (S (S
-                                                          (S (S (S (S (S (S
-                                                          (S (S (S (S (S (S
-                                                          (S (S (S (S (S (S
-                                                          (S (S (S (S (S (S
-                                                          (S (S (S (S (S (S
-                                                          (S (S (S (S
-                                                          O))))))))))))))))))))))))))))))))))))))))))))))))))))))))))))))))))))))))))))))))))))))))))))))
-                                                          (String ((Ascii
-                                                          (true, true, false,
-                                                          false, true, false,
-                                                          true, false)),
-                                                          (String ((Ascii
-                                                          (true, false, true,
-                                                          false, false, true,
-                                                          true, false)),
-                                                          (String ((Ascii
-                                                          (true, false,
-                                                          false, false, true,
-                                                          true, true,
-                                                          false)), (String
-                                                          ((Ascii (true,
-                                                          false, true, false,
-                                                          true, true, true,
-                                                          false)), (String
-                                                          ((Ascii (true,
-                                                          false, true, false,
-                                                          false, true, true,
-                                                          false)), (String
-                                                          ((Ascii (false,
-                                                          true, true, true,
-                                                          false, true, true,
-                                                          false)), (String
-                                                          ((Ascii (true,
-                                                          true, false, false,
-                                                          false, true, true,
-                                                          false)), (String
-                                                          ((Ascii (true,
-                                                          false, true, false,
-                                                          false, true, true,
-                                                          false)), (String
-                                                          ((Ascii (false,
-                                                          true, true, true,
-                                                          false, false, true,
-                                                          false)), (String
-                                                          ((Ascii (true,
-                                                          false, true, false,
-                                                          true, true, true,
-                                                          false)), (String
-                                                          ((Ascii (true,
-                                                          false, true, true,
-                                                          false, true, true,
-                                                          false)), (String
-                                                          ((Ascii (false,
-                                                          true, false, false,
-                                                          false, true, true,
-                                                          false)), (String
-                                                          ((Ascii (true,
-                                                          false, true, false,
-                                                          false, true, true,
-                                                          false)), (String
-                                                          ((Ascii (false,
-                                                          true, false, false,
-                                                          true, true, true,
-                                                          false)),
-                                                          EmptyString))))))))))))))))))))))))))))
-                                                          ((String ((Ascii
-                                                          (false, false,
-                                                          false, false, true,
-                                                          true, true,
-                                                          false)), (String
-                                                          ((Ascii (true,
-                                                          false, false,
-                                                          false, false, true,
-                                                          true, false)),
-                                                          (String ((Ascii
-                                                          (false, true,
-                                                          false, false, true,
-                                                          true, true,
-                                                          false)), (String
-                                                          ((Ascii (true,
-                                                          true, false, false,
-                                                          true, true, true,
-                                                          false)), (String
-                                                          ((Ascii (true,
-                                                          false, true, false,
-                                                          false, true, true,
-                                                          false)), (String
-                                                          ((Ascii (false,
-                                                          true, true, true,
-                                                          false, false, true,
-                                                          false)), (String
-                                                          ((Ascii (true,
-                                                          false, true, false,
-                                                          true, true, true,
-                                                          false)), (String
-                                                          ((Ascii (true,
-                                                          false, true, true,
-                                                          false, true, true,
-                                                          false)), (String
-                                                          ((Ascii (false,
-                                                          true, true, false,
-                                                          false, false, true,
-                                                          false)), (String
-                                                          ((Ascii (true,
-                                                          false, false, true,
-                                                          false, true, true,
-                                                          false)), (String
-                                                          ((Ascii (true,
-                                                          false, true, false,
-                                                          false, true, true,
-                                                          false)), (String
-                                                          ((Ascii (false,
-                                                          false, true, true,
-                                                          false, true, true,
-                                                          false)), (String
-                                                          ((Ascii (false,
-                                                          false, true, false,
-                                                          false, true, true,
-                                                          false)),
-                                                          EmptyString)))))))))))))))))))))))))) :: [])) :: [])))))))))))))) }
-
-(** val l_ADVFileControl : layout **)
-
-let l_ADVFileControl =
-  { l_name = (String ((Ascii (true, false, false, false, false, false, true,
-    false)), (String ((Ascii (false, false, true, false, false, false, true,
-    false)), (String ((Ascii (false, true, true, false, true, false, true,
-    false)), (String ((Ascii (false, true, true, false, false, false, true,
-    false)), (String ((Ascii (true, false, false, true, false, true, true,
-    false)), (String ((Ascii (false, false, true, true, false, true, true,
-    false)), (String ((Ascii (true, false, true, false, false, true, true,
-    false)), (String ((Ascii (true, true, false, false, false, false, true,
-    false)), (String ((Ascii (true, true, true, true, false, true, true,
-    false)), (String ((Ascii (false, true, true, true, false, true, true,
-    false)), (String ((Ascii (false, false, true, false, true, true, true,
-    false)), (String ((Ascii (false, true, false, false, true, true, true,
-    false)), (String ((Ascii (true, true, true, true, false, true, true,
-    false)), (String ((Ascii (false, false, true, true, false, true, true,
-    false)), EmptyString)))))))))))))))))))))))))))); l_ix = IRune; l_segs =
-    ((SLit ((Npos (XI (XO (XO (XI (XI XH)))))) :: [])) :: ((SNum ((String
-    ((Ascii (false, true, false, false, false, false, true, false)), (String
-    ((Ascii (true, false, false, false, false, true, true, false)), (String
-    ((Ascii (false, false, true, false, true, true, true, false)), (String
-    ((Ascii (true, true, false, false, false, true, true, false)), (String
-    ((Ascii (false, false, false, true, false, true, true, false)), (String
-    ((Ascii (true, true, false, false, false, false, true, false)), (String
-    ((Ascii (true, true, true, true, false, true, true, false)), (String
-    ((Ascii (true, false, true, false, true, true, true, false)), (String
-    ((Ascii (false, true, true, true, false, true, true, false)), (String
-    ((Ascii (false, false, true, false, true, true, true, false)),
-    EmptyString)))))))))))))))))))), (S (S (S (S (S (S O)))))))) :: ((SNum
-    ((String ((Ascii (false, true, false, false, false, false, true, false)),
-    (String ((Ascii (false, false, true, true, false, true, true, false)),
-    (String ((Ascii (true, true, true, true, false, true, true, false)),
-    (String ((Ascii (true, true, false, false, false, true, true, false)),
-    (String ((Ascii (true, true, false, true, false, true, true, false)),
-    (String ((Ascii (true, true, false, false, false, false, true, false)),
-    (String ((Ascii (true, true, true, true, false, true, true, false)),
-    (String ((Ascii (true, false, true, false, true, true, true, false)),
-    (String ((Ascii (false, true, true, true, false, true, true, false)),
-    (String ((Ascii (false, false, true, false, true, true, true, false)),
-    EmptyString)))))))))))))))))))), (S (S (S (S (S (S O)))))))) :: ((SNum
-    ((String ((Ascii (true, false, true, false, false, false, true, false)),
-    (String ((Ascii (false, true, true, true, false, true, true, false)),
-    (String ((Ascii (false, false, true, false, true, true, true, false)),
-    (String ((Ascii (false, true, false, false, true, true, true, false)),
-    (String ((Ascii (true, false, false, true, true, true, true, false)),
-    (String ((Ascii (true, false, false, false, false, false, true, false)),
-    (String ((Ascii (false, false, true, false, false, true, true, false)),
-    (String ((Ascii (false, false, true, false, false, true, true, false)),
-    (String ((Ascii (true, false, true, false, false, true, true, false)),
-    (String ((Ascii (false, true, true, true, false, true, true, false)),
-    (String ((Ascii (false, false, true, false, false, true, true, false)),
-    (String ((Ascii (true, false, false, false, false, true, true, false)),
-    (String ((Ascii (true, true, false, false, false, false, true, false)),
-    (String ((Ascii (true, true, true, true, false, true, true, false)),
-    (String ((Ascii (true, false, true, false, true, true, true, false)),
-    (String ((Ascii (false, true, true, true, false, true, true, false)),
-    (String ((Ascii (false, false, true, false, true, true, true, false)),
-    EmptyString)))))))))))))))))))))))))))))))))), (S (S (S (S (S (S (S (S
-    O)))))))))) :: ((SNum ((String ((Ascii (true, false, true, false, false,
-    false, true, false)), (String ((Ascii (false, true, true, true, false,
-    true, true, false)), (String ((Ascii (false, false, true, false, true,
-    true, true, false)), (String ((Ascii (false, true, false, false, true,
-    true, true, false)), (String ((Ascii (true, false, false, true, true,
-    true, true, false)), (String ((Ascii (false, false, false, true, false,
-    false, true, false)), (String ((Ascii (true, false, false, false, false,
-    true, true, false)), (String ((Ascii (true, true, false, false, true,
-    true, true, false)), (String ((Ascii (false, false, false, true, false,
-    true, true, false)), EmptyString)))))))))))))))))), (S (S (S (S (S (S (S
-    (S (S (S O)))))))))))) :: ((SNum ((String ((Ascii (false, false, true,
-    false, true, false, true, false)), (String ((Ascii (true, true, true,
-    true, false, true, true, false)), (String ((Ascii (false, false, true,
-    false, true, true, true, false)), (String ((Ascii (true, false, false,
-    false, false, true, true, false)), (String ((Ascii (false, false, true,
-    true, false, true, true, false)), (String ((Ascii (false, false, true,
-    false, false, false, true, false)), (String ((Ascii (true, false, true,
-    false, false, true, true, false)), (String ((Ascii (false, true, false,
-    false, false, true, true, false)), (String ((Ascii (true, false, false,
-    true, false, true, true, false)), (String ((Ascii (false, false, true,
-    false, true, true, true, false)), (String ((Ascii (true, false, true,
-    false, false, false, true, false)), (String ((Ascii (false, true, true,
-    true, false, true, true, false)), (String ((Ascii (false, false, true,
-    false, true, true, true, false)), (String ((Ascii (false, true, false,
-    false, true, true, true, false)), (String ((Ascii (true, false, false,
-    true, true, true, true, false)), (String ((Ascii (false, false, true,
-    false, false, false, true, false)), (String ((Ascii (true, true, true,
-    true, false, true, true, false)), (String ((Ascii (false, false, true,
-    true, false, true, true, false)), (String ((Ascii (false, false, true,
-    true, false, true, true, false)), (String ((Ascii (true, false, false,
-    false, false, true, true, false)), (String ((Ascii (false, true, false,
-    false, true, true, true, false)), (String ((Ascii (true, false, false,
-    false, false, false, true, false)), (String ((Ascii (true, false, true,
-    true, false, true, true, false)), (String ((Ascii (true, true, true,
-    true, false, true, true, false)), (String ((Ascii (true, false, true,
-    false, true, true, true, false)), (String ((Ascii (false, true, true,
-    true, false, true, true, false)), (String ((Ascii (false, false, true,
-    false, true, true, true, false)), (String ((Ascii (true, false, false,
-    true, false, false, true, false)), (String ((Ascii (false, true, true,
-    true, false, true, true, false)), (String ((Ascii (false, true, true,
-    false, false, false, true, false)), (String ((Ascii (true, false, false,
-    true, false, true, true, false)), (String ((Ascii (false, false, true,
-    true, false, true, true, false)), (String ((Ascii (true, false, true,
-    false, false, true, true, false)),
-    EmptyString)))))))))))))))))))))))))))))))))))))))))))))))))))))))))))))))))),
-    (S (S (S (S (S (S (S (S (S (S (S (S (S (S (S (S (S (S (S (S
-    O)))))))))))))))))))))) :: ((SNum ((String ((Ascii (false, false, true,
-    false, true, false, true, false)), (String ((Ascii (true, true, true,
-    true, false, true, true, false)), (String ((Ascii (false, false, true,
-    false, true, true, true, false)), (String ((Ascii (true, false, false,
-    false, false, true, true, false)), (String ((Ascii (false, false, true,
-    true, false, true, true, false)), (String ((Ascii (true, true, false,
-    false, false, false, true, false)), (String ((Ascii (false, true, false,
-    false, true, true, true, false)), (String ((Ascii (true, false, true,
-    false, false, true, true, false)), (String ((Ascii (false, false, true,
-    false, false, true, true, false)), (String ((Ascii (true, false, false,
-    true, false, true, true, false)), (String ((Ascii (false, false, true,
-    false, true, true, true, false)), (String ((Ascii (true, false, true,
-    false, false, false, true, false)), (String ((Ascii (false, true, true,
-    true, false, true, true, false)), (String ((Ascii (false, false, true,
-    false, true, true, true, false)), (String ((Ascii (false, true, false,
-    false, true, true, true, false)), (String ((Ascii (true, false, false,
-    true, true, true, true, false)), (String ((Ascii (false, false, true,
-    false, false, false, true, false)), (String ((Ascii (true, true, true,
-    true, false, true, true, false)), (String ((Ascii (false, false, true,
-    true, false, true, true, false)), (String ((Ascii (false, false, true,
-    true, false, true, true, false)), (String ((Ascii (true, false, false,
-    false, false, true, true, false)), (String ((Ascii (false, true, false,
-    false, true, true, true, false)), (String ((Ascii (true, false, false,
-    false, false, false, true, false)), (String ((Ascii (true, false, true,
-    true, false, true, true, false)), (String ((Ascii (true, true, true,
-    true, false, true, true, false)), (String ((Ascii (true, false, true,
-    false, true, true, true, false)), (String ((Ascii (false, true, true,
-    true, false, true, true, false)), (String ((Ascii (false, false, true,
-    false, true, true, true, false)), (String ((Ascii (true, false, false,
-    true, false, false, true, false)), (String ((Ascii (false, true, true,
-    true, false, true, true, false)), (String ((Ascii (false, true, true,
-    false, false, false, true, false)), (String ((Ascii (true, false, false,
-    true, false, true, true, false)), (String ((Ascii (false, false, true,
-    true, false, true, true, false)), (String ((Ascii (true, false, true,
-    false, false, true, true, false)),
-    EmptyString)))))))))))))))))))))))))))))))))))))))))))))))))))))))))))))))))))),
-    (S (S (S (S (S (S (S (S (S (S (S (S (S (S (S (S (S (S (S (S
-    O)))))))))))))))))))))) :: ((SLit ((Npos (XO (XO (XO (XO (XO
-    XH)))))) :: ((Npos (XO (XO (XO (XO (XO XH)))))) :: ((Npos (XO (XO (XO (XO
-    (XO XH)))))) :: ((Npos (XO (XO (XO (XO (XO XH)))))) :: ((Npos (XO (XO (XO
-    (XO (XO XH)))))) :: ((Npos (XO (XO (XO (XO (XO XH)))))) :: ((Npos (XO (XO
-    (XO (XO (XO XH)))))) :: ((Npos (XO (XO (XO (XO (XO XH)))))) :: ((Npos (XO
-    (XO (XO (XO (XO XH)))))) :: ((Npos (XO (XO (XO (XO (XO XH)))))) :: ((Npos
-    (XO (XO (XO (XO (XO XH)))))) :: ((Npos (XO (XO (XO (XO (XO
-    XH)))))) :: ((Npos (XO (XO (XO (XO (XO XH)))))) :: ((Npos (XO (XO (XO (XO
-    (XO XH)))))) :: ((Npos (XO (XO (XO (XO (XO XH)))))) :: ((Npos (XO (XO (XO
-    (XO (XO XH)))))) :: ((Npos (XO (XO (XO (XO (XO XH)))))) :: ((Npos (XO (XO
-    (XO (XO (XO XH)))))) :: ((Npos (XO (XO (XO (XO (XO XH)))))) :: ((Npos (XO
-    (XO (XO (XO (XO XH)))))) :: ((Npos (XO (XO (XO (XO (XO XH)))))) :: ((Npos
-    (XO (XO (XO (XO (XO XH)))))) :: ((Npos (XO (XO (XO (XO (XO
-    XH)))))) :: [])))))))))))))))))))))))) :: [])))))))); l_cuts =
-    ((mkcut (S O) (S (S (S (S (S (S (S O))))))) (String ((Ascii (false, true,
-       false, false, false, false, true, false)), (String ((Ascii (true,
-       false, false, false, false, true, true, false)), (String ((Ascii
-       (false, false, true, false, true, true, true, false)), (String ((Ascii
-       (true, true, false, false, false, true, true, false)), (String ((Ascii
-       (false, false, false, true, false, true, true, false)), (String
-       ((Ascii (true, true, false, false, false, false, true, false)),
-       (String ((Ascii (true, true, true, true, false, true, true, false)),
-       (String ((Ascii (true, false, true, false, true, true, true, false)),
-       (String ((Ascii (false, true, true, true, false, true, true, false)),
-       (String ((Ascii (false, false, true, false, true, true, true, false)),
-       EmptyString)))))))))))))))))))) ((String ((Ascii (false, false, false,
-       false, true, true, true, false)), (String ((Ascii (true, false, false,
-       false, false, true, true, false)), (String ((Ascii (false, true,
-       false, false, true, true, true, false)), (String ((Ascii (true, true,
-       false, false, true, true, true, false)), (String ((Ascii (true, false,
-       true, false, false, true, true, false)), (String ((Ascii (false, true,
-       true, true, false, false, true, false)), (String ((Ascii (true, false,
-       true, false, true, true, true, false)), (String ((Ascii (true, false,
-       true, true, false, true, true, false)), (String ((Ascii (false, true,
-       true, false, false, false, true, false)), (String ((Ascii (true,
-       false, false, true, false, true, true, false)), (String ((Ascii (true,
-       false, true, false, false, true, true, false)), (String ((Ascii
-       (false, false, true, true, false, true, true, false)), (String ((Ascii
-       (false, false, true, false, false, true, true, false)),
-       EmptyString)))))))))))))))))))))))))) :: [])) :: ((mkcut (S (S (S (S
-                                                           (S (S (S O)))))))
-                                                           (S (S (S (S (S (S
-                                                           (S (S (S (S (S (S
-                                                           (S O)))))))))))))
-                                                           (String ((Ascii
-                                                           (false, true,
-                                                           false, false,
-                                                           false, false,
-                                                           true, false)),
-                                                           (String ((Ascii
-                                                           (false, false,
-                                                           true, true, false,
-                                                           true, true,
-                                                           false)), (String
-                                                           ((Ascii (true,
-                                                           true, true, true,
-                                                           false, true, true,
-                                                           false)), (String
-                                                           ((Ascii (true,
-                                                           true, false,
-                                                           false, false,
-                                                           true, true,
-                                                           false)), (String
-                                                           ((Ascii (true,
-                                                           true, false, true,
-                                                           false, true, true,
-                                                           false)), (String
-                                                           ((Ascii (true,
-                                                           true, false,
-                                                           false, false,
-                                                           false, true,
-                                                           false)), (String
-                                                           ((Ascii (true,
-                                                           true, true, true,
-                                                           false, true, true,
-                                                           false)), (String
-                                                           ((Ascii (true,
-                                                           false, true,
-                                                           false, true, true,
-                                                           true, false)),
-                                                           (String ((Ascii
-                                                           (false, true,
-                                                           true, true, false,
-                                                           true, true,
-                                                           false)), (String
-                                                           ((Ascii (false,
-                                                           false, true,
-                                                           false, true, true,
-                                                           true, false)),
-                                                           EmptyString))))))))))))))))))))
-                                                           ((String ((Ascii
-                                                           (false, false,
-                                                           false, false,
-                                                           true, true, true,
-                                                           false)), (String
-                                                           ((Ascii (true,
-                                                           false, false,
-                                                           false, false,
-                                                           true, true,
-                                                           false)), (String
-                                                           ((Ascii (false,
-                                                           true, false,
-                                                           false, true, true,
-                                                           true, false)),
-                                                           (String ((Ascii
-                                                           (true, true,
-                                                           false, false,
-                                                           true, true, true,
-                                                           false)), (String
-                                                           ((Ascii (true,
-                                                           false, true,
-                                                           false, false,
-                                                           true, true,
-                                                           false)), (String
-                                                           ((Ascii (false,
-                                                           true, true, true,
-                                                           false, false,
-                                                           true, false)),
-                                                           (String ((Ascii
-                                                           (true, false,
-                                                           true, false, true,
-                                                           true, true,
-                                                           false)), (String
-                                                           ((Ascii (true,
-                                                           false, true, true,
-                                                           false, true, true,
-                                                           false)), (String
-                                                           ((Ascii (false,
-                                                           true, true, false,
-                                                           false, false,
-                                                           true, false)),
-                                                           (String ((Ascii
-                                                           (true, false,
-                                                           false, true,
-                                                           false, true, true,
-                                                           false)), (String
-                                                           ((Ascii (true,
-                                                           false, true,
-                                                           false, false,
-                                                           true, true,
-                                                           false)), (String
-                                                           ((Ascii (false,
-                                                           false, true, true,
-                                                           false, true, true,
-                                                           false)), (String
-                                                           ((Ascii (false,
-                                                           false, true,
-                                                           false, false,
-                                                           true, true,
-                                                           false)),
-                                                           EmptyString)))))))))))))))))))))))))) :: [])) :: (
-    (mkcut (S (S (S (S (S (S (S (S (S (S (S (S (S O))))))))))))) (S (S (S (S
-      (S (S (S (S (S (S (S (S (S (S (S (S (S (S (S (S (S
-      O))))))))))))))))))))) (String ((Ascii (true, false, true, false,
-      false, false, true, false)), (String ((Ascii (false, true, true, true,
-      false, true, true, false)), (String ((Ascii (false, false, true, false,
-      true, true, true, false)), (String ((Ascii (false, true, false, false,
-      true, true, true, false)), (String ((Ascii (true, false, false, true,
-      true, true, true, false)), (String ((Ascii (true, false, false, false,
-      false, false, true, false)), (String ((Ascii (false, false, true,
-      false, false, true, true, false)), (String ((Ascii (false, false, true,
-      false, false, true, true, false)), (String ((Ascii (true, false, true,
-      false, false, true, true, false)), (String ((Ascii (false, true, true,
-      true, false, true, true, false)), (String ((Ascii (false, false, true,
-      false, false, true, true, false)), (String ((Ascii (true, false, false,
-      false, false, true, true, false)), (String ((Ascii (true, true, false,
-      false, false, false, true, false)), (String ((Ascii (true, true, true,
-      true, false, true, true, false)), (String ((Ascii (true, false, true,
-      false, true, true, true, false)), (String ((Ascii (false, true, true,
-      true, false, true, true, false)), (String ((Ascii (false, false, true,
-      false, true, true, true, false)),
-      EmptyString)))))))))))))))))))))))))))))))))) ((String ((Ascii (false,
-      false, false, false, true, true, true, false)), (String ((Ascii (true,
-      false, false, false, false, true, true, false)), (String ((Ascii
-      (false, true, false, false, true, true, true, false)), (String ((Ascii
-      (true, true, false, false, true, true, true, false)), (String ((Ascii
-      (true, false, true, false, false, true, true, false)), (String ((Ascii
-      (false, true, true, true, false, false, true, false)), (String ((Ascii
-      (true, false, true, false, true, true, true, false)), (String ((Ascii
-      (true, false, true, true, false, true, true, false)), (String ((Ascii
-      (false, true, true, false, false, false, true, false)), (String ((Ascii
-      (true, false, false, true, false, true, true, false)), (String ((Ascii
-      (true, false, true, false, false, true, true, false)), (String ((Ascii
-      (false, false, true, true, false, true, true, false)), (String ((Ascii
-      (false, false, true, false, false, true, true, false)),
-      EmptyString)))))))))))))))))))))))))) :: [])) :: ((mkcut (S (S (S (S (S
-                                                          (S (S (S (S (S (S
-                                                          (S (S (S (S (S (S
-                                                          (S (S (S (S
-                                                          O)))))))))))))))))))))
-                                                          (S (S (S (S (S (S
-                                                          (S (S (S (S (S (S
-                                                          (S (S (S (S (S (S
-                                                          (S (S (S (S (S (S
-                                                          (S (S (S (S (S (S
-                                                          (S
-                                                          O)))))))))))))))))))))))))))))))
-                                                          (String ((Ascii
-                                                          (true, false, true,
-                                                          false, false,
-                                                          false, true,
-                                                          false)), (String
-                                                          ((Ascii (false,
-                                                          true, true, true,
-                                                          false, true, true,
-                                                          false)), (String
-                                                          ((Ascii (false,
-                                                          false, true, false,
-                                                          true, true, true,
-                                                          false)), (String
-                                                          ((Ascii (false,
-                                                          true, false, false,
-                                                          true, true, true,
-                                                          false)), (String
-                                                          ((Ascii (true,
-                                                          false, false, true,
-                                                          true, true, true,
-                                                          false)), (String
-                                                          ((Ascii (false,
-                                                          false, false, true,
-                                                          false, false, true,
-                                                          false)), (String
-                                                          ((Ascii (true,
-                                                          false, false,
-                                                          false, false, true,
-                                                          true, false)),
-                                                          (String ((Ascii
-                                                          (true, true, false,
-                                                          false, true, true,
-                                                          true, false)),
-                                                          (String ((Ascii
-                                                          (false, false,
-                                                          false, true, false,
-                                                          true, true,
-                                                          false)),
-                                                          EmptyString))))))))))))))))))
-                                                          ((String ((Ascii
-                                                          (false, false,
-                                                          false, false, true,
-                                                          true, true,
-                                                          false)), (String
-                                                          ((Ascii (true,
-                                                          false, false,
-                                                          false, false, true,
-                                                          true, false)),
-                                                          (String ((Ascii
-                                                          (false, true,
-                                                          false, false, true,
-                                                          true, true,
-                                                          false)), (String
-                                                          ((Ascii (true,
-                                                          true, false, false,
-                                                          true, true, true,
-                                                          false)), (String
-                                                          ((Ascii (true,
-                                                          false, true, false,
-                                                          false, true, true,
-                                                          false)), (String
-                                                          ((Ascii (false,
-                                                          true, true, true,
-                                                          false, false, true,
-                                                          false)), (String
-                                                          ((Ascii (true,
-                                                          false, true, false,
-                                                          true, true, true,
-                                                          false)), (String
-                                                          ((Ascii (true,
-                                                          false, true, true,
-                                                          false, true, true,
-                                                          false)), (String
-                                                          ((Ascii (false,
-                                                          true, true, false,
-                                                          false, false, true,
-                                                          false)), (String
-                                                          ((Ascii (true,
-                                                          false, false, true,
-                                                          false, true, true,
-                                                          false)), (String
-                                                          ((Ascii (true,
-                                                          false, true, false,
-                                                          false, true, true,
-                                                          false)), (String
-                                                          ((Ascii (false,
-                                                          false, true, true,
-                                                          false, true, true,
-                                                          false)), (String
-                                                          ((Ascii (false,
-                                                          false, true, false,
-                                                          false, true, true,
-                                                          false)),
-                                                          EmptyString)))))))))))))))))))))))))) :: [])) :: (
-    (mkcut (S (S (S (S (S (S (S (S (S (S (S (S (S (S (S (S (S (S (S (S (S (S
-      (S (S (S (S (S (S (S (S (S O))))))))))))))))))))))))))))))) (S (S (S (S
-      (S (S (S (S (S (S (S (S (S (S (S (S (S (S (S (S (S (S (S (S (S (S (S (S
-      (S (S (S (S (S (S (S (S (S (S (S (S (S (S (S (S (S (S (S (S (S (S (S
-      O))))))))))))))))))))))))))))))))))))))))))))))))))) (String ((Ascii
-      (false, false, true, false, true, false, true, false)), (String ((Ascii
-      (true, true, true, true, false, true, true, false)), (String ((Ascii
-      (false, false, true, false, true, true, true, false)), (String ((Ascii
-      (true, false, false, false, false, true, true, false)), (String ((Ascii
-      (false, false, true, true, false, true, true, false)), (String ((Ascii
-      (false, false, true, false, false, false, true, false)), (String
-      ((Ascii (true, false, true, false, false, true, true, false)), (String
-      ((Ascii (false, true, false, false, false, true, true, false)), (String
-      ((Ascii (true, false, false, true, false, true, true, false)), (String
-      ((Ascii (false, false, true, false, true, true, true, false)), (String
-      ((Ascii (true, false, true, false, false, false, true, false)), (String
-      ((Ascii (false, true, true, true, false, true, true, false)), (String
-      ((Ascii (false, false, true, false, true, true, true, false)), (String
-      ((Ascii (false, true, false, false, true, true, true, false)), (String
-      ((Ascii (true, false, false, true, true, true, true, false)), (String
-      ((Ascii (false, false, true, false, false, false, true, false)),
-      (String ((Ascii (true, true, true, true, false, true, true, false)),
-      (String ((Ascii (false, false, true, true, false, true, true, false)),
-      (String ((Ascii (false, false, true, true, false, true, true, false)),
-      (String ((Ascii (true, false, false, false, false, true, true, false)),
-      (String ((Ascii (false, true, false, false, true, true, true, false)),
-      (String ((Ascii (true, false, false, false, false, false, true,
-      false)), (String ((Ascii (true, false, true, true, false, true, true,
-      false)), (String ((Ascii (true, true, true, true, false, true, true,
-      false)), (String ((Ascii (true, false, true, false, true, true, true,
-      false)), (String ((Ascii (false, true, true, true, false, true, true,
-      false)), (String ((Ascii (false, false, true, false, true, true, true,
-      false)), (String ((Ascii (true, false, false, true, false, false, true,
-      false)), (String ((Ascii (false, true, true, true, false, true, true,
-      false)), (String ((Ascii (false, true, true, false, false, false, true,
-      false)), (String ((Ascii (true, false, false, true, false, true, true,
-      false)), (String ((Ascii (false, false, true, true, false, true, true,
-      false)), (String ((Ascii (true, false, true, false, false, true, true,
-      false)),
-      EmptyString))))))))))))))))))))))))))))))))))))))))))))))))))))))))))))))))))
-      ((String ((Ascii (false, false, false, false, true, true, true,
-      false)), (String ((Ascii (true, false, false, false, false, true, true,
-      false)), (String ((Ascii (false, true, false, false, true, true, true,
-      false)), (String ((Ascii (true, true, false, false, true, true, true,
-      false)), (String ((Ascii (true, false, true, false, false, true, true,
-      false)), (String ((Ascii (false, true, true, true, false, false, true,
-      false)), (String ((Ascii (true, false, true, false, true, true, true,
-      false)), (String ((Ascii (true, false, true, true, false, true, true,
-      false)), (String ((Ascii (false, true, true, false, false, false, true,
-      false)), (String ((Ascii (true, false, false, true, false, true, true,
-      false)), (String ((Ascii (true, false, true, false, false, true, true,
-      false)), (String ((Ascii (false, false, true, true, false, true, true,
-      false)), (String ((Ascii (false, false, true, false, false, true, true,
-      false)), EmptyString)))))))))))))))))))))))))) :: [])) :: ((mkcut (S (S
-                                                                   (S (S (S
-                                                                   (S (S (S
-                                                                   (S (S (S
-                                                                   (S (S (S
-                                                                   (S (S (S
-                                                                   (S (S (S
-                                                                   (S (S (S
-                                                                   (S (S (S
-                                                                   (S (S (S
-                                                                   (S (S (S
-                                                                   (S (S (S
-                                                                   (S (S (S
-                                                                   (S (S (S
-                                                                   (S (S (S
-                                                                   (S (S (S
-                                                                   (S (S (S
-                                                                   (S
-                                                                   O)))))))))))))))))))))))))))))))))))))))))))))))))))
-                                                                   (S (S (S
-                                                                   (S (S (S
-                                                                   (S (S (S
-                                                                   (S (S (S
-                                                                   (S (S (S
-                                                                   (S (S (S
-                                                                   (S (S (S
-                                                                   (S (S (S
-                                                                   (S (S (S
-                                                                   (S (S (S
-                                                                   (S (S (S
-                                                                   (S (S (S
-                                                                   (S (S (S
-                                                                   (S (S (S
-                                                                   (S (S (S
-                                                                   (S (S (S
-                                                                   (S (S (S
-                                                                   (S (S (S
-                                                                   (S (S (S
-                                                                   (S (S (S
-                                                                   (S (S (S
-                                                                   (S (S (S
-                                                                   (S (S (S
-                                                                   (S (S
-                                                                   O)))))))))))))))))))))))))))))))))))))))))))))))))))))))))))))))))))))))
-                                                                   (String
-                                                                   ((Ascii
-                                                                   (false,
-                                                                   false,
-                                                                   true,
-                                                                   false,
-                                                                   true,
-                                                                   false,
-                                                                   true,
-                                                                   false)),
-                                                                   (String
-                                                                   ((Ascii
-                                                                   (true,
-                                                                   true,
-                                                                   true,
-                                                                   true,
-                                                                   false,
-                                                                   true,
-                                                                   true,
-                                                                   false)),
-                                                                   (String
-                                                                   ((Ascii
-                                                                   (false,
-                                                                   false,
-                                                                   true,
-                                                                   false,
-                                                                   true,
-                                                                   true,
-                                                                   true,
-                                                                   false)),
-                                                                   (String
-                                                                   ((Ascii
-                                                                   (true,
-                                                                   false,
-                                                                   false,
-                                                                   false,
-                                                                   false,
-                                                                   true,
-                                                                   true,
-                                                                   false)),
-                                                                   (String
-                                                                   ((Ascii
-                                                                   (false,
-                                                                   false,
-                                                                   true,
-                                                                   true,
-                                                                   false,
-                                                                   true,
-                                                                   true,
-                                                                   false)),
-                                                                   (String
-                                                                   ((Ascii
-                                                                   (true,
-                                                                   true,
-                                                                   false,
-                                                                   false,
-                                                                   false,
-                                                                   false,
-                                                                   true,
-                                                                   false)),
-                                                                   (String
-                                                                   ((Ascii
-                                                                   (false,
-                                                                   true,
-                                                                   false,
-                                                                   false,
-                                                                   true,
-                                                                   true,
-                                                                   true,
-                                                                   false)),
-                                                                   (String
-                                                                   ((Ascii
-                                                                   (true,
-                                                                   false,
-                                                                   true,
-                                                                   false,
-                                                                   false,
-                                                                   true,
-                                                                   true,
-                                                                   false)),
-                                                                   (String
-                                                                   ((Ascii
-                                                                   (false,
-                                                                   false,
-                                                                   true,
-                                                                   false,
-                                                                   false,
-                                                                   true,
-                                                                   true,
-                                                                   false)),
-                                                                   (String
-                                                                   ((Ascii
-                                                                   (true,
-                                                                   false,
-                                                                   false,
-                                                                   true,
-                                                                   false,
-                                                                   true,
-                                                                   true,
-                                                                   false)),
-                                                                   (String
-                                                                   ((Ascii
-                                                                   (false,
-                                                                   false,
-                                                                   true,
-                                                                   false,
-                                                                   true,
-                                                                   true,
-                                                                   true,
-                                                                   false)),
-                                                                   (String
-                                                                   ((Ascii
-                                                                   (true,
-                                                                   false,
-                                                                   true,
-                                                                   false,
-                                                                   false,
-                                                                   false,
-                                                                   true,
-                                                                   false)),
-                                                                   (String
-                                                                   ((Ascii
-                                                                   (false,
-                                                                   true,
-                                                                   true,
-                                                                   true,
-                                                                   false,
-                                                                   true,
-                                                                   true,
-                                                                   false)),
-                                                                   (String
-                                                                   ((Ascii
-                                                                   (false,
-                                                                   false,
-                                                                   true,
-                                                                   false,
-                                                                   true,
-                                                                   true,
-                                                                   true,
-                                                                   false)),
-                                                                   (String
-                                                                   ((Ascii
-                                                                   (false,
-                                                                   true,
-                                                                   false,
-                                                                   false,
-                                                                   true,
-                                                                   true,
-                                                                   true,
-                                                                   false)),
-                                                                   (String
-                                                                   ((Ascii
-                                                                   (true,
-                                                                   false,
-                                                                   false,
-                                                                   true,
-                                                                   true,
-                                                                   true,
-                                                                   true,
-                                                                   false)),
-                                                                   (String
-                                                                   ((Ascii
-                                                                   (false,
-                                                                   false,
-                                                                   true,
-                                                                   false,
-                                                                   false,
-                                                                   false,
-                                                                   true,
-                                                                   false)),
-                                                                   (String
-                                                                   ((Ascii
-                                                                   (true,
-                                                                   true,
-                                                                   true,
-                                                                   true,
-                                                                   false,
-                                                                   true,
-                                                                   true,
-                                                                   false)),
-                                                                   (String
-                                                                   ((Ascii
-                                                                   (false,
-                                                                   false,
-                                                                   true,
-                                                                   true,
-                                                                   false,
-                                                                   true,
-                                                                   true,
-                                                                   false)),
-                                                                   (String
-                                                                   ((Ascii
-                                                                   (false,
-                                                                   false,
-                                                                   true,
-                                                                   true,
-                                                                   false,
-                                                                   true,
-                                                                   true,
-                                                                   false)),
-                                                                   (String
-                                                                   ((Ascii
-                                                                   (true,
-                                                                   false,
-                                                                   false,
-                                                                   false,
-                                                                   false,
-                                                                   true,
-                                                                   true,
-                                                                   false)),
-                                                                   (String
-                                                                   ((Ascii
-                                                                   (false,
-                                                                   true,
-                                                                   false,
-                                                                   false,
-                                                                   true,
-                                                                   true,
-                                                                   true,
-                                                                   false)),
-                                                                   (String
-                                                                   ((Ascii
-                                                                   (true,
-                                                                   false,
-                                                                   false,
-                                                                   false,
-                                                                   false,
-                                                                   false,
-                                                                   true,
-                                                                   false)),
-                                                                   (String
-                                                                   ((Ascii
-                                                                   (true,
-                                                                   false,
-                                                                   true,
-                                                                   true,
-                                                                   false,
-                                                                   true,
-                                                                   true,
-                                                                   false)),
-                                                                   (String
-                                                                   ((Ascii
-                                                                   (true,
-                                                                   true,
-                                                                   true,
-                                                                   true,
-                                                                   false,
-                                                                   true,
-                                                                   true,
-                                                                   false)),
-                                                                   (String
-                                                                   ((Ascii
-                                                                   (true,
-                                                                   false,
-                                                                   true,
-                                                                   false,
-                                                                   true,
-                                                                   true,
-                                                                   true,
-                                                                   false)),
-                                                                   (String
-                                                                   ((Ascii
-                                                                   (false,
-                                                                   true,
-                                                                   true,
-                                                                   true,
-                                                                   false,
-                                                                   true,
-                                                                   true,
-                                                                   false)),
-                                                                   (String
-                                                                   ((Ascii
-                                                                   (false,
-                                                                   false,
-                                                                   true,
-                                                                   false,
-                                                                   true,
-                                                                   true,
-                                                                   true,
-                                                                   false)),
-                                                                   (String
-                                                                   ((Ascii
-                                                                   (true,
-                                                                   false,
-                                                                   false,
-                                                                   true,
-                                                                   false,
-                                                                   false,
-                                                                   true,
-                                                                   false)),
-                                                                   (String
-                                                                   ((Ascii
-                                                                   (false,
-                                                                   true,
-                                                                   true,
-                                                                   true,
-                                                                   false,
-                                                                   true,
-                                                                   true,
-                                                                   false)),
-                                                                   (String
-                                                                   ((Ascii
-                                                                   (false,
-                                                                   true,
-                                                                   true,
-                                                                   false,
-                                                                   false,
-                                                                   false,
-                                                                   true,
-                                                                   false)),
-                                                                   (String
-                                                                   ((Ascii
-                                                                   (true,
-                                                                   false,
-                                                                   false,
-                                                                   true,
-                                                                   false,
-                                                                   true,
-                                                                   true,
-                                                                   false)),
-                                                                   (String
-                                                                   ((Ascii
-                                                                   (false,
-                                                                   false,
-                                                                   true,
-                                                                   true,
-                                                                   false,
-                                                                   true,
-                                                                   true,
-                                                                   false)),
-                                                                   (String
-                                                                   ((Ascii
-                                                                   (true,
-                                                                   false,
-                                                                   true,
-                                                                   false,
-                                                                   false,
-                                                                   true,
-                                                                   true,
-                                                                   false)),
-                                                                   EmptyString))))))))))))))))))))))))))))))))))))))))))))))))))))))))))))))))))))
-                                                                   ((String
-                                                                   ((Ascii
-                                                                   (false,
-                                                                   false,
-                                                                   false,
-                                                                   false,
-                                                                   true,
-                                                                   true,
-                                                                   true,
-                                                                   false)),
-                                                                   (String
-                                                                   ((Ascii
-                                                                   (true,
-                                                                   false,
-                                                                   false,
-                                                                   false,
-                                                                   false,
-                                                                   true,
-                                                                   true,
-                                                                   false)),
-                                                                   (String
-                                                                   ((Ascii
-                                                                   (false,
-                                                                   true,
-                                                                   false,
-                                                                   false,
-                                                                   true,
-                                                                   true,
-                                                                   true,
-                                                                   false)),
-                                                                   (String
-                                                                   ((Ascii
-                                                                   (true,
-                                                                   true,
-                                                                   false,
-                                                                   false,
-                                                                   true,
-                                                                   true,
-                                                                   true,
-                                                                   false)),
-                                                                   (String
-                                                                   ((Ascii
-                                                                   (true,
-                                                                   false,
-                                                                   true,
-                                                                   false,
-                                                                   false,
-                                                                   true,
-                                                                   true,
-                                                                   false)),
-                                                                   (String
-                                                                   ((Ascii
-                                                                   (false,
-                                                                   true,
-                                                                   true,
-                                                                   true,
-                                                                   false,
-                                                                   false,
-                                                                   true,
-                                                                   false)),
-                                                                   (String
-                                                                   ((Ascii
-                                                                   (true,
-                                                                   false,
-                                                                   true,
-                                                                   false,
-                                                                   true,
-                                                                   true,
-                                                                   true,
-                                                                   false)),
-                                                                   (String
-                                                                   ((Ascii
-                                                                   (true,
-                                                                   false,
-                                                                   true,
-                                                                   true,
-                                                                   false,
-                                                                   true,
-                                                                   true,
-                                                                   false)),
-                                                                   (String
-                                                                   ((Ascii
-                                                                   (false,
-                                                                   true,
-                                                                   true,
-                                                                   false,
-                                                                   false,
-                                                                   false,
-                                                                   true,
-                                                                   false)),
-                                                                   (String
-                                                                   ((Ascii
-                                                                   (true,
-                                                                   false,
-                                                                   false,
-                                                                   true,
-                                                                   false,
-                                                                   true,
-                                                                   true,
-                                                                   false)),
-                                                                   (String
-                                                                   ((Ascii
-                                                                   (true,
-                                                                   false,
-                                                                   true,
-                                                                   false,
-                                                                   false,
-                                                                   true,
-                                                                   true,
-                                                                   false)),
-                                                                   (String
-                                                                   ((Ascii
-                                                                   (false,
-                                                                   false,
-                                                                   true,
-                                                                   true,
-                                                                   false,
-                                                                   true,
-                                                                   true,
-                                                                   false)),
-                                                                   (String
-                                                                   ((Ascii
-                                                                   (false,
-                                                                   false,
-                                                                   true,
-                                                                   false,
-                                                                   false,
-                                                                   true,
-                                                                   true,
-                                                                   false)),
-                                                                   EmptyString)))))))))))))))))))))))))) :: [])) :: [])))))) }
-
-(** val l_Addenda02 : layout **)
-
-let l_Addenda02 =
-  { l_name = (String ((Ascii (true, false, false, false, false, false, true,
-    false)), (String ((Ascii (false, false, true, false, false, true, true,
-    false)), (String ((Ascii (false, false, true, false, false, true, true,
-    false)), (String ((Ascii (true, false, true, false, false, true, true,
-    false)), (String ((Ascii (false, true, true, true, false, true, true,
-    false)), (String ((Ascii (false, false, true, false, false, true, true,
-    false)), (String ((Ascii (true, false, false, false, false, true, true,
-    false)), (String ((Ascii (false, false, false, false, true, true, false,
-    false)), (String ((Ascii (false, true, false, false, true, true, false,
-    false)), EmptyString)))))))))))))))))); l_ix = IRune; l_segs = ((SLit
-    ((Npos (XI (XI (XI (XO (XI XH)))))) :: [])) :: ((SRaw (String ((Ascii
-    (false, false, true, false, true, false, true, false)), (String ((Ascii
-    (true, false, false, true, true, true, true, false)), (String ((Ascii
-    (false, false, false, false, true, true, true, false)), (String ((Ascii
-    (true, false, true, false, false, true, true, false)), (String ((Ascii
-    (true, true, false, false, false, false, true, false)), (String ((Ascii
-    (true, true, true, true, false, true, true, false)), (String ((Ascii
-    (false, false, true, false, false, true, true, false)), (String ((Ascii
-    (true, false, true, false, false, true, true, false)),
-    EmptyString))))))))))))))))) :: ((SAlpha ((String ((Ascii (false, true,
-    false, false, true, false, true, false)), (String ((Ascii (true, false,
-    true, false, false, true, true, false)), (String ((Ascii (false, true,
-    true, false, false, true, true, false)), (String ((Ascii (true, false,
-    true, false, false, true, true, false)), (String ((Ascii (false, true,
-    false, false, true, true, true, false)), (String ((Ascii (true, false,
-    true, false, false, true, true, false)), (String ((Ascii (false, true,
-    true, true, false, true, true, false)), (String ((Ascii (true, true,
-    false, false, false, true, true, false)), (String ((Ascii (true, false,
-    true, false, false, true, true, false)), (String ((Ascii (true, false,
-    false, true, false, false, true, false)), (String ((Ascii (false, true,
-    true, true, false, true, true, false)), (String ((Ascii (false, true,
-    true, false, false, true, true, false)), (String ((Ascii (true, true,
-    true, true, false, true, true, false)), (String ((Ascii (false, true,
-    false, false, true, true, true, false)), (String ((Ascii (true, false,
-    true, true, false, true, true, false)), (String ((Ascii (true, false,
-    false, false, false, true, true, false)), (String ((Ascii (false, false,
-    true, false, true, true, true, false)), (String ((Ascii (true, false,
-    false, true, false, true, true, false)), (String ((Ascii (true, true,
-    true, true, false, true, true, false)), (String ((Ascii (false, true,
-    true, true, false, true, true, false)), (String ((Ascii (true, true,
-    true, true, false, false, true, false)), (String ((Ascii (false, true,
-    true, true, false, true, true, false)), (String ((Ascii (true, false,
-    true, false, false, true, true, false)),
-    EmptyString)))))))))))))))))))))))))))))))))))))))))))))), (S (S (S (S (S
-    (S (S O))))))))) :: ((SAlpha ((String ((Ascii (false, true, false, false,
-    true, false, true, false)), (String ((Ascii (true, false, true, false,
-    false, true, true, false)), (String ((Ascii (false, true, true, false,
-    false, true, true, false)), (String ((Ascii (true, false, true, false,
-    false, true, true, false)), (String ((Ascii (false, true, false, false,
-    true, true, true, false)), (String ((Ascii (true, false, true, false,
-    false, true, true, false)), (String ((Ascii (false, true, true, true,
-    false, true, true, false)), (String ((Ascii (true, true, false, false,
-    false, true, true, false)), (String ((Ascii (true, false, true, false,
-    false, true, true, false)), (String ((Ascii (true, false, false, true,
-    false, false, true, false)), (String ((Ascii (false, true, true, true,
-    false, true, true, false)), (String ((Ascii (false, true, true, false,
-    false, true, true, false)), (String ((Ascii (true, true, true, true,
-    false, true, true, false)), (String ((Ascii (false, true, false, false,
-    true, true, true, false)), (String ((Ascii (true, false, true, true,
-    false, true, true, false)), (String ((Ascii (true, false, false, false,
-    false, true, true, false)), (String ((Ascii (false, false, true, false,
-    true, true, true, false)), (String ((Ascii (true, false, false, true,
-    false, true, true, false)), (String ((Ascii (true, true, true, true,
-    false, true, true, false)), (String ((Ascii (false, true, true, true,
-    false, true, true, false)), (String ((Ascii (false, false, true, false,
-    true, false, true, false)), (String ((Ascii (true, true, true, false,
-    true, true, true, false)), (String ((Ascii (true, true, true, true,
-    false, true, true, false)),
-    EmptyString)))))))))))))))))))))))))))))))))))))))))))))), (S (S (S
-    O))))) :: ((SAlpha ((String ((Ascii (false, false, true, false, true,
-    false, true, false)), (String ((Ascii (true, false, true, false, false,
-    true, true, false)), (String ((Ascii (false, true, false, false, true,
-    true, true, false)), (String ((Ascii (true, false, true, true, false,
-    true, true, false)), (String ((Ascii (true, false, false, true, false,
-    true, true, false)), (String ((Ascii (false, true, true, true, false,
-    true, true, false)), (String ((Ascii (true, false, false, false, false,
-    true, true, false)), (String ((Ascii (false, false, true, true, false,
-    true, true, false)), (String ((Ascii (true, false, false, true, false,
-    false, true, false)), (String ((Ascii (false, false, true, false, false,
-    true, true, false)), (String ((Ascii (true, false, true, false, false,
-    true, true, false)), (String ((Ascii (false, true, true, true, false,
-    true, true, false)), (String ((Ascii (false, false, true, false, true,
-    true, true, false)), (String ((Ascii (true, false, false, true, false,
-    true, true, false)), (String ((Ascii (false, true, true, false, false,
-    true, true, false)), (String ((Ascii (true, false, false, true, false,
-    true, true, false)), (String ((Ascii (true, true, false, false, false,
-    true, true, false)), (String ((Ascii (true, false, false, false, false,
-    true, true, false)), (String ((Ascii (false, false, true, false, true,
-    true, true, false)), (String ((Ascii (true, false, false, true, false,
-    true, true, false)), (String ((Ascii (true, true, true, true, false,
-    true, true, false)), (String ((Ascii (false, true, true, true, false,
-    true, true, false)), (String ((Ascii (true, true, false, false, false,
-    false, true, false)), (String ((Ascii (true, true, true, true, false,
-    true, true, false)), (String ((Ascii (false, false, true, false, false,
-    true, true, false)), (String ((Ascii (true, false, true, false, false,
-    true, true, false)),
-    EmptyString)))))))))))))))))))))))))))))))))))))))))))))))))))), (S (S (S
-    (S (S (S O)))))))) :: ((SAlpha ((String ((Ascii (false, false, true,
-    false, true, false, true, false)), (String ((Ascii (false, true, false,
-    false, true, true, true, false)), (String ((Ascii (true, false, false,
-    false, false, true, true, false)), (String ((Ascii (false, true, true,
-    true, false, true, true, false)), (String ((Ascii (true, true, false,
-    false, true, true, true, false)), (String ((Ascii (true, false, false,
-    false, false, true, true, false)), (String ((Ascii (true, true, false,
-    false, false, true, true, false)), (String ((Ascii (false, false, true,
-    false, true, true, true, false)), (String ((Ascii (true, false, false,
-    true, false, true, true, false)), (String ((Ascii (true, true, true,
-    true, false, true, true, false)), (String ((Ascii (false, true, true,
-    true, false, true, true, false)), (String ((Ascii (true, true, false,
-    false, true, false, true, false)), (String ((Ascii (true, false, true,
-    false, false, true, true, false)), (String ((Ascii (false, true, false,
-    false, true, true, true, false)), (String ((Ascii (true, false, false,
-    true, false, true, true, false)), (String ((Ascii (true, false, false,
-    false, false, true, true, false)), (String ((Ascii (false, false, true,
-    true, false, true, true, false)), (String ((Ascii (false, true, true,
-    true, false, false, true, false)), (String ((Ascii (true, false, true,
-    false, true, true, true, false)), (String ((Ascii (true, false, true,
-    true, false, true, true, false)), (String ((Ascii (false, true, false,
-    false, false, true, true, false)), (String ((Ascii (true, false, true,
-    false, false, true, true, false)), (String ((Ascii (false, true, false,
-    false, true, true, true, false)),
-    EmptyString)))))))))))))))))))))))))))))))))))))))))))))), (S (S (S (S (S
-    (S O)))))))) :: ((SAlpha ((String ((Ascii (false, false, true, false,
-    true, false, true, false)), (String ((Ascii (false, true, false, false,
-    true, true, true, false)), (String ((Ascii (true, false, false, false,
-    false, true, true, false)), (String ((Ascii (false, true, true, true,
-    false, true, true, false)), (String ((Ascii (true, true, false, false,
-    true, true, true, false)), (String ((Ascii (true, false, false, false,
-    false, true, true, false)), (String ((Ascii (true, true, false, false,
-    false, true, true, false)), (String ((Ascii (false, false, true, false,
-    true, true, true, false)), (String ((Ascii (true, false, false, true,
-    false, true, true, false)), (String ((Ascii (true, true, true, true,
-    false, true, true, false)), (String ((Ascii (false, true, true, true,
-    false, true, true, false)), (String ((Ascii (false, false, true, false,
-    false, false, true, false)), (String ((Ascii (true, false, false, false,
-    false, true, true, false)), (String ((Ascii (false, false, true, false,
-    true, true, true, false)), (String ((Ascii (true, false, true, false,
-    false, true, true, false)), EmptyString)))))))))))))))))))))))))))))), (S
-    (S (S (S O)))))) :: ((SAlpha ((String ((Ascii (true, false, false, false,
-    false, false, true, false)), (String ((Ascii (true, false, true, false,
-    true, true, true, false)), (String ((Ascii (false, false, true, false,
-    true, true, true, false)), (String ((Ascii (false, false, false, true,
-    false, true, true, false)), (String ((Ascii (true, true, true, true,
-    false, true, true, false)), (String ((Ascii (false, true, false, false,
-    true, true, true, false)), (String ((Ascii (true, false, false, true,
-    false, true, true, false)), (String ((Ascii (false, true, false, true,
-    true, true, true, false)), (String ((Ascii (true, false, false, false,
-    false, true, true, false)), (String ((Ascii (false, false, true, false,
-    true, true, true, false)), (String ((Ascii (true, false, false, true,
-    false, true, true, false)), (String ((Ascii (true, true, true, true,
-    false, true, true, false)), (String ((Ascii (false, true, true, true,
-    false, true, true, false)), (String ((Ascii (true, true, false, false,
-    false, false, true, false)), (String ((Ascii (true, true, true, true,
-    false, true, true, false)), (String ((Ascii (false, false, true, false,
-    false, true, true, false)), (String ((Ascii (true, false, true, false,
-    false, true, true, false)), (String ((Ascii (true, true, true, true,
-    false, false, true, false)), (String ((Ascii (false, true, false, false,
-    true, true, true, false)), (String ((Ascii (true, false, true, false,
-    false, false, true, false)), (String ((Ascii (false, false, false, true,
-    true, true, true, false)), (String ((Ascii (false, false, false, false,
-    true, true, true, false)), (String ((Ascii (true, false, false, true,
-    false, true, true, false)), (String ((Ascii (false, true, false, false,
-    true, true, true, false)), (String ((Ascii (true, false, true, false,
-    false, true, true, false)), (String ((Ascii (false, false, true, false,
-    false, false, true, false)), (String ((Ascii (true, false, false, false,
-    false, true, true, false)), (String ((Ascii (false, false, true, false,
-    true, true, true, false)), (String ((Ascii (true, false, true, false,
-    false, true, true, false)),
-    EmptyString)))))))))))))))))))))))))))))))))))))))))))))))))))))))))), (S
-    (S (S (S (S (S O)))))))) :: ((SAlpha ((String ((Ascii (false, false,
-    true, false, true, false, true, false)), (String ((Ascii (true, false,
-    true, false, false, true, true, false)), (String ((Ascii (false, true,
-    false, false, true, true, true, false)), (String ((Ascii (true, false,
-    true, true, false, true, true, false)), (String ((Ascii (true, false,
-    false, true, false, true, true, false)), (String ((Ascii (false, true,
-    true, true, false, true, true, false)), (String ((Ascii (true, false,
-    false, false, false, true, true, false)), (String ((Ascii (false, false,
-    true, true, false, true, true, false)), (String ((Ascii (false, false,
-    true, true, false, false, true, false)), (String ((Ascii (true, true,
-    true, true, false, true, true, false)), (String ((Ascii (true, true,
-    false, false, false, true, true, false)), (String ((Ascii (true, false,
-    false, false, false, true, true, false)), (String ((Ascii (false, false,
-    true, false, true, true, true, false)), (String ((Ascii (true, false,
-    false, true, false, true, true, false)), (String ((Ascii (true, true,
-    true, true, false, true, true, false)), (String ((Ascii (false, true,
-    true, true, false, true, true, false)),
-    EmptyString)))))))))))))))))))))))))))))))), (S (S (S (S (S (S (S (S (S
-    (S (S (S (S (S (S (S (S (S (S (S (S (S (S (S (S (S (S
-    O))))))))))))))))))))))))))))) :: ((SAlpha ((String ((Ascii (false,
-    false, true, false, true, false, true, false)), (String ((Ascii (true,
-    false, true, false, false, true, true, false)), (String ((Ascii (false,
-    true, false, false, true, true, true, false)), (String ((Ascii (true,
-    false, true, true, false, true, true, false)), (String ((Ascii (true,
-    false, false, true, false, true, true, false)), (String ((Ascii (false,
-    true, true, true, false, true, true, false)), (String ((Ascii (true,
-    false, false, false, false, true, true, false)), (String ((Ascii (false,
-    false, true, true, false, true, true, false)), (String ((Ascii (true,
-    true, false, false, false, false, true, false)), (String ((Ascii (true,
-    false, false, true, false, true, true, false)), (String ((Ascii (false,
-    false, true, false, true, true, true, false)), (String ((Ascii (true,
-    false, false, true, true, true, true, false)),
-    EmptyString)))))))))))))))))))))))), (S (S (S (S (S (S (S (S (S (S (S (S
-    (S (S (S O))))))))))))))))) :: ((SAlpha ((String ((Ascii (false, false,
-    true, false, true, false, true, false)), (String ((Ascii (true, false,
-    true, false, false, true, true, false)), (String ((Ascii (false, true,
-    false, false, true, true, true, false)), (String ((Ascii (true, false,
-    true, true, false, true, true, false)), (String ((Ascii (true, false,
-    false, true, false, true, true, false)), (String ((Ascii (false, true,
-    true, true, false, true, true, false)), (String ((Ascii (true, false,
-    false, false, false, true, true, false)), (String ((Ascii (false, false,
-    true, true, false, true, true, false)), (String ((Ascii (true, true,
-    false, false, true, false, true, false)), (String ((Ascii (false, false,
-    true, false, true, true, true, false)), (String ((Ascii (true, false,
-    false, false, false, true, true, false)), (String ((Ascii (false, false,
-    true, false, true, true, true, false)), (String ((Ascii (true, false,
-    true, false, false, true, true, false)),
-    EmptyString)))))))))))))))))))))))))), (S (S O)))) :: ((SStr ((String
-    ((Ascii (false, false, true, false, true, false, true, false)), (String
-    ((Ascii (false, true, false, false, true, true, true, false)), (String
-    ((Ascii (true, false, false, false, false, true, true, false)), (String
-    ((Ascii (true, true, false, false, false, true, true, false)), (String
-    ((Ascii (true, false, true, false, false, true, true, false)), (String
-    ((Ascii (false, true, true, true, false, false, true, false)), (String
-    ((Ascii (true, false, true, false, true, true, true, false)), (String
-    ((Ascii (true, false, true, true, false, true, true, false)), (String
-    ((Ascii (false, true, false, false, false, true, true, false)), (String
-    ((Ascii (true, false, true, false, false, true, true, false)), (String
-    ((Ascii (false, true, false, false, true, true, true, false)),
-    EmptyString)))))))))))))))))))))), (S (S (S (S (S (S (S (S (S (S (S (S (S
-    (S (S O))))))))))))))))) :: [])))))))))))); l_cuts =
-    ((mkcut O (S O) EmptyString []) :: ((mkcut (S O) (S (S (S O))) (String
-                                          ((Ascii (false, false, true, false,
-                                          true, false, true, false)), (String
-                                          ((Ascii (true, false, false, true,
-                                          true, true, true, false)), (String
-                                          ((Ascii (false, false, false,
-                                          false, true, true, true, false)),
-                                          (String ((Ascii (true, false, true,
-                                          false, false, true, true, false)),
-                                          (String ((Ascii (true, true, false,
-                                          false, false, false, true, false)),
-                                          (String ((Ascii (true, true, true,
-                                          true, false, true, true, false)),
-                                          (String ((Ascii (false, false,
-                                          true, false, false, true, true,
-                                          false)), (String ((Ascii (true,
-                                          false, true, false, false, true,
-                                          true, false)),
-                                          EmptyString)))))))))))))))) []) :: (
-    (mkcut (S (S (S O))) (S (S (S (S (S (S (S (S (S (S O)))))))))) (String
-      ((Ascii (false, true, false, false, true, false, true, false)), (String
-      ((Ascii (true, false, true, false, false, true, true, false)), (String
-      ((Ascii (false, true, true, false, false, true, true, false)), (String
-      ((Ascii (true, false, true, false, false, true, true, false)), (String
-      ((Ascii (false, true, false, false, true, true, true, false)), (String
-      ((Ascii (true, false, true, false, false, true, true, false)), (String
-      ((Ascii (false, true, true, true, false, true, true, false)), (String
-      ((Ascii (true, true, false, false, false, true, true, false)), (String
-      ((Ascii (true, false, true, false, false, true, true, false)), (String
-      ((Ascii (true, false, false, true, false, false, true, false)), (String
-      ((Ascii (false, true, true, true, false, true, true, false)), (String
-      ((Ascii (false, true, true, false, false, true, true, false)), (String
-      ((Ascii (true, true, true, true, false, true, true, false)), (String
-      ((Ascii (false, true, false, false, true, true, true, false)), (String
-      ((Ascii (true, false, true, true, false, true, true, false)), (String
-      ((Ascii (true, false, false, false, false, true, true, false)), (String
-      ((Ascii (false, false, true, false, true, true, true, false)), (String
-      ((Ascii (true, false, false, true, false, true, true, false)), (String
-      ((Ascii (true, true, true, true, false, true, true, false)), (String
-      ((Ascii (false, true, true, true, false, true, true, false)), (String
-      ((Ascii (true, true, true, true, false, false, true, false)), (String
-      ((Ascii (false, true, true, true, false, true, true, false)), (String
-      ((Ascii (true, false, true, false, false, true, true, false)),
-      EmptyString)))))))))))))))))))))))))))))))))))))))))))))) ((String
-      ((Ascii (true, true, false, false, true, true, true, false)), (String
-      ((Ascii (false, false, true, false, true, true, true, false)), (String
-      ((Ascii (false, true, false, false, true, true, true, false)), (String
-      ((Ascii (true, false, false, true, false, true, true, false)), (String
-      ((Ascii (false, true, true, true, false, true, true, false)), (String
-      ((Ascii (true, true, true, false, false, true, true, false)), (String
-      ((Ascii (true, true, false, false, true, true, true, false)), (String
-      ((Ascii (false, true, true, true, false, true, false, false)), (String
-      ((Ascii (false, false, true, false, true, false, true, false)), (String
-      ((Ascii (false, true, false, false, true, true, true, false)), (String
-      ((Ascii (true, false, false, true, false, true, true, false)), (String
-      ((Ascii (true, false, true, true, false, true, true, false)), (String
-      ((Ascii (true, true, false, false, true, false, true, false)), (String
-      ((Ascii (false, false, false, false, true, true, true, false)), (String
-      ((Ascii (true, false, false, false, false, true, true, false)), (String
-      ((Ascii (true, true, false, false, false, true, true, false)), (String
-      ((Ascii (true, false, true, false, false, true, true, false)),
-      EmptyString)))))))))))))))))))))))))))))))))) :: [])) :: ((mkcut (S (S
-                                                                  (S (S (S (S
-                                                                  (S (S (S (S
-                                                                  O))))))))))
-                                                                  (S (S (S (S
-                                                                  (S (S (S (S
-                                                                  (S (S (S (S
-                                                                  (S
-                                                                  O)))))))))))))
-                                                                  (String
-                                                                  ((Ascii
-                                                                  (false,
-                                                                  true,
-                                                                  false,
-                                                                  false,
-                                                                  true,
-                                                                  false,
-                                                                  true,
-                                                                  false)),
-                                                                  (String
-                                                                  ((Ascii
-                                                                  (true,
-                                                                  false,
-                                                                  true,
-                                                                  false,
-                                                                  false,
-                                                                  true, true,
-                                                                  false)),
-                                                                  (String
-                                                                  ((Ascii
-                                                                  (false,
-                                                                  true, true,
-                                                                  false,
-                                                                  false,
-                                                                  true, true,
-                                                                  false)),
-                                                                  (String
-                                                                  ((Ascii
-                                                                  (true,
-                                                                  false,
-                                                                  true,
-                                                                  false,
-                                                                  false,
-                                                                  true, true,
-                                                                  false)),
-                                                                  (String
-                                                                  ((Ascii
-                                                                  (false,
-                                                                  true,
-                                                                  false,
-                                                                  false,
-                                                                  true, true,
-                                                                  true,
-                                                                  false)),
-                                                                  (String
-                                                                  ((Ascii
-                                                                  (true,
-                                                                  false,
-                                                                  true,
-                                                                  false,
-                                                                  false,
-                                                                  true, true,
-                                                                  false)),
-                                                                  (String
-                                                                  ((Ascii
-                                                                  (false,
-                                                                  true, true,
-                                                                  true,
-                                                                  false,
-                                                                  true, true,
-                                                                  false)),
-                                                                  (String
-                                                                  ((Ascii
-                                                                  (true,
-                                                                  true,
-                                                                  false,
-                                                                  false,
-                                                                  false,
-                                                                  true, true,
-                                                                  false)),
-                                                                  (String
-                                                                  ((Ascii
-                                                                  (true,
-                                                                  false,
-                                                                  true,
-                                                                  false,
-                                                                  false,
-                                                                  true, true,
-                                                                  false)),
-                                                                  (String
-                                                                  ((Ascii
-                                                                  (true,
-                                                                  false,
-                                                                  false,
-                                                                  true,
-                                                                  false,
-                                                                  false,
-                                                                  true,
-                                                                  false)),
-                                                                  (String
-                                                                  ((Ascii
-                                                                  (false,
-                                                                  true, true,
-                                                                  true,
-                                                                  false,
-                                                                  true, true,
-                                                                  false)),
-                                                                  (String
-                                                                  ((Ascii
-                                                                  (false,
-                                                                  true, true,
-                                                                  false,
-                                                                  false,
-                                                                  true, true,
-                                                                  false)),
-                                                                  (String
-                                                                  ((Ascii
-                                                                  (true,
-                                                                  true, true,
-                                                                  true,
-                                                                  false,
-                                                                  true, true,
-                                                                  false)),
-                                                                  (String
-                                                                  ((Ascii
-                                                                  (false,
-                                                                  true,
-                                                                  false,
-                                                                  false,
-                                                                  true, true,
-                                                                  true,
-                                                                  false)),
-                                                                  (String
-                                                                  ((Ascii
-                                                                  (true,
-                                                                  false,
-                                                                  true, true,
-                                                                  false,
-                                                                  true, true,
-                                                                  false)),
-                                                                  (String
-                                                                  ((Ascii
-                                                                  (true,
-                                                                  false,
-                                                                  false,
-                                                                  false,
-                                                                  false,
-                                                                  true, true,
-                                                                  false)),
-                                                                  (String
-                                                                  ((Ascii
-                                                                  (false,
-                                                                  false,
-                                                                  true,
-                                                                  false,
-                                                                  true, true,
-                                                                  true,
-                                                                  false)),
-                                                                  (String
-                                                                  ((Ascii
-                                                                  (true,
-                                                                  false,
-                                                                  false,
-                                                                  true,
-                                                                  false,
-                                                                  true, true,
-                                                                  false)),
-                                                                  (String
-                                                                  ((Ascii
-                                                                  (true,
-                                                                  true, true,
-                                                                  true,
-                                                                  false,
-                                                                  true, true,
-                                                                  false)),
-                                                                  (String
-                                                                  ((Ascii
-                                                                  (false,
-                                                                  true, true,
-                                                                  true,
-                                                                  false,
-                                                                  true, true,
-                                                                  false)),
-                                                                  (String
-                                                                  ((Ascii
-                                                                  (false,
-                                                                  false,
-                                                                  true,
-                                                                  false,
-                                                                  true,
-                                                                  false,
-                                                                  true,
-                                                                  false)),
-                                                                  (String
-                                                                  ((Ascii
-                                                                  (true,
-                                                                  true, true,
-                                                                  false,
-                                                                  true, true,
-                                                                  true,
-                                                                  false)),
-                                                                  (String
-                                                                  ((Ascii
-                                                                  (true,
-                                                                  true, true,
-                                                                  true,
-                                                                  false,
-                                                                  true, true,
-                                                                  false)),
-                                                                  EmptyString))))))))))))))))))))))))))))))))))))))))))))))
-                                                                  ((String
-                                                                  ((Ascii
-                                                                  (true,
-                                                                  true,
-                                                                  false,
-                                                                  false,
-                                                                  true, true,
-                                                                  true,
-                                                                  false)),
-                                                                  (String
-                                                                  ((Ascii
-                                                                  (false,
-                                                                  false,
-                                                                  true,
-                                                                  false,
-                                                                  true, true,
-                                                                  true,
-                                                                  false)),
-                                                                  (String
-                                                                  ((Ascii
-                                                                  (false,
-                                                                  true,
-                                                                  false,
-                                                                  false,
-                                                                  true, true,
-                                                                  true,
-                                                                  false)),
-                                                                  (String
-                                                                  ((Ascii
-                                                                  (true,
-                                                                  false,
-                                                                  false,
-                                                                  true,
-                                                                  false,
-                                                                  true, true,
-                                                                  false)),
-                                                                  (String
-                                                                  ((Ascii
-                                                                  (false,
-                                                                  true, true,
-                                                                  true,
-                                                                  false,
-                                                                  true, true,
-                                                                  false)),
-                                                                  (String
-                                                                  ((Ascii
-                                                                  (true,
-                                                                  true, true,
-                                                                  false,
-                                                                  false,
-                                                                  true, true,
-                                                                  false)),
-                                                                  (String
-                                                                  ((Ascii
-                                                                  (true,
-                                                                  true,
-                                                                  false,
-                                                                  false,
-                                                                  true, true,
-                                                                  true,
-                                                                  false)),
-                                                                  (String
-                                                                  ((Ascii
-                                                                  (false,
-                                                                  true, true,
-                                                                  true,
-                                                                  false,
-                                                                  true,
-                                                                  false,
-                                                                  false)),
-                                                                  (String
-                                                                  ((Ascii
-                                                                  (false,
-                                                                  false,
-                                                                  true,
-                                                                  false,
-                                                                  true,
-                                                                  false,
-                                                                  true,
-                                                                  false)),
-                                                                  (String
-                                                                  ((Ascii
-                                                                  (false,
-                                                                  true,
-                                                                  false,
-                                                                  false,
-                                                                  true, true,
-                                                                  true,
-                                                                  false)),
-                                                                  (String
-                                                                  ((Ascii
-                                                                  (true,
-                                                                  false,
-                                                                  false,
-                                                                  true,
-                                                                  false,
-                                                                  true, true,
-                                                                  false)),
-                                                                  (String
-                                                                  ((Ascii
-                                                                  (true,
-                                                                  false,
-                                                                  true, true,
-                                                                  false,
-                                                                  true, true,
-                                                                  false)),
-                                                                  (String
-                                                                  ((Ascii
-                                                                  (true,
-                                                                  true,
-                                                                  false,
-                                                                  false,
-                                                                  true,
-                                                                  false,
-                                                                  true,
-                                                                  false)),
-                                                                  (String
-                                                                  ((Ascii
-                                                                  (false,
-                                                                  false,
-                                                                  false,
-                                                                  false,
-                                                                  true, true,
-                                                                  true,
-                                                                  false)),
-                                                                  (String
-                                                                  ((Ascii
-                                                                  (true,
-                                                                  false,
-                                                                  false,
-                                                                  false,
-                                                                  false,
-                                                                  true, true,
-                                                                  false)),
-                                                                  (String
-                                                                  ((Ascii
-                                                                  (true,
-                                                                  true,
-                                                                  false,
-                                                                  false,
-                                                                  false,
-                                                                  true, true,
-                                                                  false)),
-                                                                  (String
-                                                                  ((Ascii
-                                                                  (true,
-                                                                  false,
-                                                                  true,
-                                                                  false,
-                                                                  false,
-                                                                  true, true,
-                                                                  false)),
-                                                                  EmptyString)))))))))))))))))))))))))))))))))) :: [])) :: (
-    (mkcut (S (S (S (S (S (S (S (S (S (S (S (S (S O))))))))))))) (S (S (S (S
-      (S (S (S (S (S (S (S (S (S (S (S (S (S (S (S O)))))))))))))))))))
-      (String ((Ascii (false, false, true, false, true, false, true, false)),
-      (String ((Ascii (true, false, true, false, false, true, true, false)),
-      (String ((Ascii (false, true, false, false, true, true, true, false)),
-      (String ((Ascii (true, false, true, true, false, true, true, false)),
-      (String ((Ascii (true, false, false, true, false, true, true, false)),
-      (String ((Ascii (false, true, true, true, false, true, true, false)),
-      (String ((Ascii (true, false, false, false, false, true, true, false)),
-      (String ((Ascii (false, false, true, true, false, true, true, false)),
-      (String ((Ascii (true, false, false, true, false, false, true, false)),
-      (String ((Ascii (false, false, true, false, false, true, true, false)),
-      (String ((Ascii (true, false, true, false, false, true, true, false)),
-      (String ((Ascii (false, true, true, true, false, true, true, false)),
-      (String ((Ascii (false, false, true, false, true, true, true, false)),
-      (String ((Ascii (true, false, false, true, false, true, true, false)),
-      (String ((Ascii (false, true, true, false, false, true, true, false)),
-      (String ((Ascii (true, false, false, true, false, true, true, false)),
-      (String ((Ascii (true, true, false, false, false, true, true, false)),
-      (String ((Ascii (true, false, false, false, false, true, true, false)),
-      (String ((Ascii (false, false, true, false, true, true, true, false)),
-      (String ((Ascii (true, false, false, true, false, true, true, false)),
-      (String ((Ascii (true, true, true, true, false, true, true, false)),
-      (String ((Ascii (false, true, true, true, false, true, true, false)),
-      (String ((Ascii (true, true, false, false, false, false, true, false)),
-      (String ((Ascii (true, true, true, true, false, true, true, false)),
-      (String ((Ascii (false, false, true, false, false, true, true, false)),
-      (String ((Ascii (true, false, true, false, false, true, true, false)),
-      EmptyString))))))))))))))))))))))))))))))))))))))))))))))))))))
-      ((String ((Ascii (true, true, false, false, true, true, true, false)),
-      (String ((Ascii (false, false, true, false, true, true, true, false)),
-      (String ((Ascii (false, true, false, false, true, true, true, false)),
-      (String ((Ascii (true, false, false, true, false, true, true, false)),
-      (String ((Ascii (false, true, true, true, false, true, true, false)),
-      (String ((Ascii (true, true, true, false, false, true, true, false)),
-      (String ((Ascii (true, true, false, false, true, true, true, false)),
-      (String ((Ascii (false, true, true, true, false, true, false, false)),
-      (String ((Ascii (false, false, true, false, true, false, true, false)),
-      (String ((Ascii (false, true, false, false, true, true, true, false)),
-      (String ((Ascii (true, false, false, true, false, true, true, false)),
-      (String ((Ascii (true, false, true, true, false, true, true, false)),
-      (String ((Ascii (true, true, false, false, true, false, true, false)),
-      (String ((Ascii (false, false, false, false, true, true, true, false)),
-      (String ((Ascii (true, false, false, false, false, true, true, false)),
-      (String ((Ascii (true, true, false, false, false, true, true, false)),
-      (String ((Ascii (true, false, true, false, false, true, true, false)),
-      EmptyString)))))))))))))))))))))))))))))))))) :: [])) :: ((mkcut (S (S
-                                                                  (S (S (S (S
-                                                                  (S (S (S (S
-                                                                  (S (S (S (S
-                                                                  (S (S (S (S
-                                                                  (S
-                                                                  O)))))))))))))))))))
-                                                                  (S (S (S (S
-                                                                  (S (S (S (S
-                                                                  (S (S (S (S
-                                                                  (S (S (S (S
-                                                                  (S (S (S (S
-                                                                  (S (S (S (S
-                                                                  (S
-                                                                  O)))))))))))))))))))))))))
-                                                                  (String
-                                                                  ((Ascii
-                                                                  (false,
-                                                                  false,
-                                                                  true,
-                                                                  false,
-                                                                  true,
-                                                                  false,
-                                                                  true,
-                                                                  false)),
-                                                                  (String
-                                                                  ((Ascii
-                                                                  (false,
-                                                                  true,
-                                                                  false,
-                                                                  false,
-                                                                  true, true,
-                                                                  true,
-                                                                  false)),
-                                                                  (String
-                                                                  ((Ascii
-                                                                  (true,
-                                                                  false,
-                                                                  false,
-                                                                  false,
-                                                                  false,
-                                                                  true, true,
-                                                                  false)),
-                                                                  (String
-                                                                  ((Ascii
-                                                                  (false,
-                                                                  true, true,
-                                                                  true,
-                                                                  false,
-                                                                  true, true,
-                                                                  false)),
-                                                                  (String
-                                                                  ((Ascii
-                                                                  (true,
-                                                                  true,
-                                                                  false,
-                                                                  false,
-                                                                  true, true,
-                                                                  true,
-                                                                  false)),
-                                                                  (String
-                                                                  ((Ascii
-                                                                  (true,
-                                                                  false,
-                                                                  false,
-                                                                  false,
-                                                                  false,
-                                                                  true, true,
-                                                                  false)),
-                                                                  (String
-                                                                  ((Ascii
-                                                                  (true,
-                                                                  true,
-                                                                  false,
-                                                                  false,
-                                                                  false,
-                                                                  true, true,
-                                                                  false)),
-                                                                  (String
-                                                                  ((Ascii
-                                                                  (false,
-                                                                  false,
-                                                                  true,
-                                                                  false,
-                                                                  true, true,
-                                                                  true,
-                                                                  false)),
-                                                                  (String
-                                                                  ((Ascii
-                                                                  (true,
-                                                                  false,
-                                                                  false,
-                                                                  true,
-                                                                  false,
-                                                                  true, true,
-                                                                  false)),
-                                                                  (String
-                                                                  ((Ascii
-                                                                  (true,
-                                                                  true, true,
-                                                                  true,
-                                                                  false,
-                                                                  true, true,
-                                                                  false)),
-                                                                  (String
-                                                                  ((Ascii
-                                                                  (false,
-                                                                  true, true,
-                                                                  true,
-                                                                  false,
-                                                                  true, true,
-                                                                  false)),
-                                                                  (String
-                                                                  ((Ascii
-                                                                  (true,
-                                                                  true,
-                                                                  false,
-                                                                  false,
-                                                                  true,
-                                                                  false,
-                                                                  true,
-                                                                  false)),
-                                                                  (String
-                                                                  ((Ascii
-                                                                  (true,
-                                                                  false,
-                                                                  true,
-                                                                  false,
-                                                                  false,
-                                                                  true, true,
-                                                                  false)),
-                                                                  (String
-                                                                  ((Ascii
-                                                                  (false,
-                                                                  true,
-                                                                  false,
-                                                                  false,
-                                                                  true, true,
-                                                                  true,
-                                                                  false)),
-                                                                  (String
-                                                                  ((Ascii
-                                                                  (true,
-                                                                  false,
-                                                                  false,
-                                                                  true,
-                                                                  false,
-                                                                  true, true,
-                                                                  false)),
-                                                                  (String
-                                                                  ((Ascii
-                                                                  (true,
-                                                                  false,
-                                                                  false,
-                                                                  false,
-                                                                  false,
-                                                                  true, true,
-                                                                  false)),
-                                                                  (String
-                                                                  ((Ascii
-                                                                  (false,
-                                                                  false,
-                                                                  true, true,
-                                                                  false,
-                                                                  true, true,
-                                                                  false)),
-                                                                  (String
-                                                                  ((Ascii
-                                                                  (false,
-                                                                  true, true,
-                                                                  true,
-                                                                  false,
-                                                                  false,
-                                                                  true,
-                                                                  false)),
-                                                                  (String
-                                                                  ((Ascii
-                                                                  (true,
-                                                                  false,
-                                                                  true,
-                                                                  false,
-                                                                  true, true,
-                                                                  true,
-                                                                  false)),
-                                                                  (String
-                                                                  ((Ascii
-                                                                  (true,
-                                                                  false,
-                                                                  true, true,
-                                                                  false,
-                                                                  true, true,
-                                                                  false)),
-                                                                  (String
-                                                                  ((Ascii
-                                                                  (false,
-                                                                  true,
-                                                                  false,
-                                                                  false,
-                                                                  false,
-                                                                  true, true,
-                                                                  false)),
-                                                                  (String
-                                                                  ((Ascii
-                                                                  (true,
-                                                                  false,
-                                                                  true,
-                                                                  false,
-                                                                  false,
-                                                                  true, true,
-                                                                  false)),
-                                                                  (String
-                                                                  ((Ascii
-                                                                  (false,
-                                                                  true,
-                                                                  false,
-                                                                  false,
-                                                                  true, true,
-                                                                  true,
-                                                                  false)),
-                                                                  EmptyString))))))))))))))))))))))))))))))))))))))))))))))
-                                                                  ((String
-                                                                  ((Ascii
-                                                                  (true,
-                                                                  true,
-                                                                  false,
-                                                                  false,
-                                                                  true, true,
-                                                                  true,
-                                                                  false)),
-                                                                  (String
-                                                                  ((Ascii
-                                                                  (false,
-                                                                  false,
-                                                                  true,
-                                                                  false,
-                                                                  true, true,
-                                                                  true,
-                                                                  false)),
-                                                                  (String
-                                                                  ((Ascii
-                                                                  (false,
-                                                                  true,
-                                                                  false,
-                                                                  false,
-                                                                  true, true,
-                                                                  true,
-                                                                  false)),
-                                                                  (String
-                                                                  ((Ascii
-                                                                  (true,
-                                                                  false,
-                                                                  false,
-                                                                  true,
-                                                                  false,
-                                                                  true, true,
-                                                                  false)),
-                                                                  (String
-                                                                  ((Ascii
-                                                                  (false,
-                                                                  true, true,
-                                                                  true,
-                                                                  false,
-                                                                  true, true,
-                                                                  false)),
-                                                                  (String
-                                                                  ((Ascii
-                                                                  (true,
-                                                                  true, true,
-                                                                  false,
-                                                                  false,
-                                                                  true, true,
-                                                                  false)),
-                                                                  (String
-                                                                  ((Ascii
-                                                                  (true,
-                                                                  true,
-                                                                  false,
-                                                                  false,
-                                                                  true, true,
-                                                                  true,
-                                                                  false)),
-                                                                  (String
-                                                                  ((Ascii
-                                                                  (false,
-                                                                  true, true,
-                                                                  true,
-                                                                  false,
-                                                                  true,
-                                                                  false,
-                                                                  false)),
-                                                                  (String
-                                                                  ((Ascii
-                                                                  (false,
-                                                                  false,
-                                                                  true,
-                                                                  false,
-                                                                  true,
-                                                                  false,
-                                                                  true,
-                                                                  false)),
-                                                                  (String
-                                                                  ((Ascii
-                                                                  (false,
-                                                                  true,
-                                                                  false,
-                                                                  false,
-                                                                  true, true,
-                                                                  true,
-                                                                  false)),
-                                                                  (String
-                                                                  ((Ascii
-                                                                  (true,
-                                                                  false,
-                                                                  false,
-                                                                  true,
-                                                                  false,
-                                                                  true, true,
-                                                                  false)),
-                                                                  (String
-                                                                  ((Ascii
-                                                                  (true,
-                                                                  false,
-                                                                  true, true,
-                                                                  false,
-                                                                  true, true,
-                                                                  false)),
-                                                                  (String
-                                                                  ((Ascii
-                                                                  (true,
-                                                                  true,
-                                                                  false,
-                                                                  false,
-                                                                  true,
-                                                                  false,
-                                                                  true,
-                                                                  false)),
-                                                                  (String
-                                                                  ((Ascii
-                                                                  (false,
-                                                                  false,
-                                                                  false,
-                                                                  false,
-                                                                  true, true,
-                                                                  true,
-                                                                  false)),
-                                                                  (String
-                                                                  ((Ascii
-                                                                  (true,
-                                                                  false,
-                                                                  false,
-                                                                  false,
-                                                                  false,
-                                                                  true, true,
-                                                                  false)),
-                                                                  (String
-                                                                  ((Ascii
-                                                                  (true,
-                                                                  true,
-                                                                  false,
-                                                                  false,
-                                                                  false,
-                                                                  true, true,
-                                                                  false)),
-                                                                  (String
-                                                                  ((Ascii
-                                                                  (true,
-                                                                  false,
-                                                                  true,
-                                                                  false,
-                                                                  false,
-                                                                  true, true,
-                                                                  false)),
-                                                                  EmptyString)))))))))))))))))))))))))))))))))) :: [])) :: (
-    (mkcut (S (S (S (S (S (S (S (S (S (S (S (S (S (S (S (S (S (S (S (S (S (S
-      (S (S (S O))))))))))))))))))))))))) (S (S (S (S (S (S (S (S (S (S (S (S
-      (S (S (S (S (S (S (S (S (S (S (S (S (S (S (S (S (S
-      O))))))))))))))))))))))))))))) (String ((Ascii (false, false, true,
-      false, true, false, true, false)), (String ((Ascii (false, true, false,
-      false, true, true, true, false)), (String ((Ascii (true, false, false,
-      false, false, true, true, false)), (String ((Ascii (false, true, true,
-      true, false, true, true, false)), (String ((Ascii (true, true, false,
-      false, true, true, true, false)), (String ((Ascii (true, false, false,
-      false, false, true, true, false)), (String ((Ascii (true, true, false,
-      false, false, true, true, false)), (String ((Ascii (false, false, true,
-      false, true, true, true, false)), (String ((Ascii (true, false, false,
-      true, false, true, true, false)), (String ((Ascii (true, true, true,
-      true, false, true, true, false)), (String ((Ascii (false, true, true,
-      true, false, true, true, false)), (String ((Ascii (false, false, true,
-      false, false, false, true, false)), (String ((Ascii (true, false,
-      false, false, false, true, true, false)), (String ((Ascii (false,
-      false, true, false, true, true, true, false)), (String ((Ascii (true,
-      false, true, false, false, true, true, false)),
-      EmptyString)))))))))))))))))))))))))))))) ((String ((Ascii (true, true,
-      false, false, true, true, true, false)), (String ((Ascii (false, false,
-      true, false, true, true, true, false)), (String ((Ascii (false, true,
-      false, false, true, true, true, false)), (String ((Ascii (true, false,
-      false, true, false, true, true, false)), (String ((Ascii (false, true,
-      true, true, false, true, true, false)), (String ((Ascii (true, true,
-      true, false, false, true, true, false)), (String ((Ascii (true, true,
-      false, false, true, true, true, false)), (String ((Ascii (false, true,
-      true, true, false, true, false, false)), (String ((Ascii (false, false,
-      true, false, true, false, true, false)), (String ((Ascii (false, true,
-      false, false, true, true, true, false)), (String ((Ascii (true, false,
-      false, true, false, true, true, false)), (String ((Ascii (true, false,
-      true, true, false, true, true, false)), (String ((Ascii (true, true,
-      false, false, true, false, true, false)), (String ((Ascii (false,
-      false, false, false, true, true, true, false)), (String ((Ascii (true,
-      false, false, false, false, true, true, false)), (String ((Ascii (true,
-      true, false, false, false, true, true, false)), (String ((Ascii (true,
-      false, true, false, false, true, true, false)),
-      EmptyString)))))))))))))))))))))))))))))))))) :: [])) :: ((mkcut (S (S
-                                                                  (S (S (S (S
-                                                                  (S (S (S (S
-                                                                  (S (S (S (S
-                                                                  (S (S (S (S
-                                                                  (S (S (S (S
-                                                                  (S (S (S (S
-                                                                  (S (S (S
-                                                                  O)))))))))))))))))))))))))))))
-                                                                  (S (S (S (S
-                                                                  (S (S (S (S
-                                                                  (S (S (S (S
-                                                                  (S (S (S (S
-                                                                  (S (S (S (S
-                                                                  (S (S (S (S
-                                                                  (S (S (S (S
-                                                                  (S (S (S (S
-                                                                  (S (S (S
-                                                                  O)))))))))))))))))))))))))))))))))))
-                                                                  (String
-                                                                  ((Ascii
-                                                                  (true,
-                                                                  false,
-                                                                  false,
-                                                                  false,
-                                                                  false,
-                                                                  false,
-                                                                  true,
-                                                                  false)),
-                                                                  (String
-                                                                  ((Ascii
-                                                                  (true,
-                                                                  false,
-                                                                  true,
-                                                                  false,
-                                                                  true, true,
-                                                                  true,
-                                                                  false)),
-                                                                  (String
-                                                                  ((Ascii
-                                                                  (false,
-                                                                  false,
-                                                                  true,
-                                                                  false,
-                                                                  true, true,
-                                                                  true,
-                                                                  false)),
-                                                                  (String
-                                                                  ((Ascii
-                                                                  (false,
-                                                                  false,
-                                                                  false,
-                                                                  true,
-                                                                  false,
-                                                                  true, true,
-                                                                  false)),
-                                                                  (String
-                                                                  ((Ascii
-                                                                  (true,
-                                                                  true, true,
-                                                                  true,
-                                                                  false,
-                                                                  true, true,
-                                                                  false)),
-                                                                  (String
-                                                                  ((Ascii
-                                                                  (false,
-                                                                  true,
-                                                                  false,
-                                                                  false,
-                                                                  true, true,
-                                                                  true,
-                                                                  false)),
-                                                                  (String
-                                                                  ((Ascii
-                                                                  (true,
-                                                                  false,
-                                                                  false,
-                                                                  true,
-                                                                  false,
-                                                                  true, true,
-                                                                  false)),
-                                                                  (String
-                                                                  ((Ascii
-                                                                  (false,
-                                                                  true,
-                                                                  false,
-                                                                  true, true,
-                                                                  true, true,
-                                                                  false)),
-                                                                  (String
-                                                                  ((Ascii
-                                                                  (true,
-                                                                  false,
-                                                                  false,
-                                                                  false,
-                                                                  false,
-                                                                  true, true,
-                                                                  false)),
-                                                                  (String
-                                                                  ((Ascii
-                                                                  (false,
-                                                                  false,
-                                                                  true,
-                                                                  false,
-                                                                  true, true,
-                                                                  true,
-                                                                  false)),
-                                                                  (String
-                                                                  ((Ascii
-                                                                  (true,
-                                                                  false,
-                                                                  false,
-                                                                  true,
-                                                                  false,
-                                                                  true, true,
-                                                                  false)),
-                                                                  (String
-                                                                  ((Ascii
-                                                                  (true,
-                                                                  true, true,
-                                                                  true,
-                                                                  false,
-                                                                  true, true,
-                                                                  false)),
-                                                                  (String
-                                                                  ((Ascii
-                                                                  (false,
-                                                                  true, true,
-                                                                  true,
-                                                                  false,
-                                                                  true, true,
-                                                                  false)),
-                                                                  (String
-                                                                  ((Ascii
-                                                                  (true,
-                                                                  true,
-                                                                  false,
-                                                                  false,
-                                                                  false,
-                                                                  false,
-                                                                  true,
-                                                                  false)),
-                                                                  (String
-                                                                  ((Ascii
-                                                                  (true,
-                                                                  true, true,
-                                                                  true,
-                                                                  false,
-                                                                  true, true,
-                                                                  false)),
-                                                                  (String
-                                                                  ((Ascii
-                                                                  (false,
-                                                                  false,
-                                                                  true,
-                                                                  false,
-                                                                  false,
-                                                                  true, true,
-                                                                  false)),
-                                                                  (String
-                                                                  ((Ascii
-                                                                  (true,
-                                                                  false,
-                                                                  true,
-                                                                  false,
-                                                                  false,
-                                                                  true, true,
-                                                                  false)),
-                                                                  (String
-                                                                  ((Ascii
-                                                                  (true,
-                                                                  true, true,
-                                                                  true,
-                                                                  false,
-                                                                  false,
-                                                                  true,
-                                                                  false)),
-                                                                  (String
-                                                                  ((Ascii
-                                                                  (false,
-                                                                  true,
-                                                                  false,
-                                                                  false,
-                                                                  true, true,
-                                                                  true,
-                                                                  false)),
-                                                                  (String
-                                                                  ((Ascii
-                                                                  (true,
-                                                                  false,
-                                                                  true,
-                                                                  false,
-                                                                  false,
-                                                                  false,
-                                                                  true,
-                                                                  false)),
-                                                                  (String
-                                                                  ((Ascii
-                                                                  (false,
-                                                                  false,
-                                                                  false,
-                                                                  true, true,
-                                                                  true, true,
-                                                                  false)),
-                                                                  (String
-                                                                  ((Ascii
-                                                                  (false,
-                                                                  false,
-                                                                  false,
-                                                                  false,
-                                                                  true, true,
-                                                                  true,
-                                                                  false)),
-                                                                  (String
-                                                                  ((Ascii
-                                                                  (true,
-                                                                  false,
-                                                                  false,
-                                                                  true,
-                                                                  false,
-                                                                  true, true,
-                                                                  false)),
-                                                                  (String
-                                                                  ((Ascii
-                                                                  (false,
-                                                                  true,
-                                                                  false,
-                                                                  false,
-                                                                  true, true,
-                                                                  true,
-                                                                  false)),
-                                                                  (String
-                                                                  ((Ascii
-                                                                  (true,
-                                                                  false,
-                                                                  true,
-                                                                  false,
-                                                                  false,
-                                                                  true, true,
-                                                                  false)),
-                                                                  (String
-                                                                  ((Ascii
-                                                                  (false,
-                                                                  false,
-                                                                  true,
-                                                                  false,
-                                                                  false,
-                                                                  false,
-                                                                  true,
-                                                                  false)),
-                                                                  (String
-                                                                  ((Ascii
-                                                                  (true,
-                                                                  false,
-                                                                  false,
-                                                                  false,
-                                                                  false,
-                                                                  true, true,
-                                                                  false)),
-                                                                  (String
-                                                                  ((Ascii
-                                                                  (false,
-                                                                  false,
-                                                                  true,
-                                                                  false,
-                                                                  true, true,
-                                                                  true,
-                                                                  false)),
-                                                                  (String
-                                                                  ((Ascii
-                                                                  (true,
-                                                                  false,
-                                                                  true,
-                                                                  false,
-                                                                  false,
-                                                                  true, true,
-                                                                  false)),
-                                                                  EmptyString))))))))))))))))))))))))))))))))))))))))))))))))))))))))))
-                                                                  ((String
-                                                                  ((Ascii
-                                                                  (true,
-                                                                  true,
-                                                                  false,
-                                                                  false,
-                                                                  true, true,
-                                                                  true,
-                                                                  false)),
-                                                                  (String
-                                                                  ((Ascii
-                                                                  (false,
-                                                                  false,
-                                                                  true,
-                                                                  false,
-                                                                  true, true,
-                                                                  true,
-                                                                  false)),
-                                                                  (String
-                                                                  ((Ascii
-                                                                  (false,
-                                                                  true,
-                                                                  false,
-                                                                  false,
-                                                                  true, true,
-                                                                  true,
-                                                                  false)),
-                                                                  (String
-                                                                  ((Ascii
-                                                                  (true,
-                                                                  false,
-                                                                  false,
-                                                                  true,
-                                                                  false,
-                                                                  true, true,
-                                                                  false)),
-                                                                  (String
-                                                                  ((Ascii
-                                                                  (false,
-                                                                  true, true,
-                                                                  true,
-                                                                  false,
-                                                                  true, true,
-                                                                  false)),
-                                                                  (String
-                                                                  ((Ascii
-                                                                  (true,
-                                                                  true, true,
-                                                                  false,
-                                                                  false,
-                                                                  true, true,
-                                                                  false)),
-                                                                  (String
-                                                                  ((Ascii
-                                                                  (true,
-                                                                  true,
-                                                                  false,
-                                                                  false,
-                                                                  true, true,
-                                                                  true,
-                                                                  false)),
-                                                                  (String
-                                                                  ((Ascii
-                                                                  (false,
-                                                                  true, true,
-                                                                  true,
-                                                                  false,
-                                                                  true,
-                                                                  false,
-                                                                  false)),
-                                                                  (String
-                                                                  ((Ascii
-                                                                  (false,
-                                                                  false,
-                                                                  true,
-                                                                  false,
-                                                                  true,
-                                                                  false,
-                                                                  true,
-                                                                  false)),
-                                                                  (String
-                                                                  ((Ascii
-                                                                  (false,
-                                                                  true,
-                                                                  false,
-                                                                  false,
-                                                                  true, true,
-                                                                  true,
-                                                                  false)),
-                                                                  (String
-                                                                  ((Ascii
-                                                                  (true,
-                                                                  false,
-                                                                  false,
-                                                                  true,
-                                                                  false,
-                                                                  true, true,
-                                                                  false)),
-                                                                  (String
-                                                                  ((Ascii
-                                                                  (true,
-                                                                  false,
-                                                                  true, true,
-                                                                  false,
-                                                                  true, true,
-                                                                  false)),
-                                                                  (String
-                                                                  ((Ascii
-                                                                  (true,
-                                                                  true,
-                                                                  false,
-                                                                  false,
-                                                                  true,
-                                                                  false,
-                                                                  true,
-                                                                  false)),
-                                                                  (String
-                                                                  ((Ascii
-                                                                  (false,
-                                                                  false,
-                                                                  false,
-                                                                  false,
-                                                                  true, true,
-                                                                  true,
-                                                                  false)),
-                                                                  (String
-                                                                  ((Ascii
-                                                                  (true,
-                                                                  false,
-                                                                  false,
-                                                                  false,
-                                                                  false,
-                                                                  true, true,
-                                                                  false)),
-                                                                  (String
-                                                                  ((Ascii
-                                                                  (true,
-                                                                  true,
-                                                                  false,
-                                                                  false,
-                                                                  false,
-                                                                  true, true,
-                                                                  false)),
-                                                                  (String
-                                                                  ((Ascii
-                                                                  (true,
-                                                                  false,
-                                                                  true,
-                                                                  false,
-                                                                  false,
-                                                                  true, true,
-                                                                  false)),
-                                                                  EmptyString)))))))))))))))))))))))))))))))))) :: [])) :: (
-    (mkcut (S (S (S (S (S (S (S (S (S (S (S (S (S (S (S (S (S (S (S (S (S (S
-      (S (S (S (S (S (S (S (S (S (S (S (S (S
-      O))))))))))))))))))))))))))))))))))) (S (S (S (S (S (S (S (S (S (S (S
-      (S (S (S (S (S (S (S (S (S (S (S (S (S (S (S (S (S (S (S (S (S (S (S (S
-      (S (S (S (S (S (S (S (S (S (S (S (S (S (S (S (S (S (S (S (S (S (S (S (S
-      (S (S (S
-      O)))))))))))))))))))))))))))))))))))))))))))))))))))))))))))))) (String
-      ((Ascii (false, false, true, false, true, false, true, false)), (String
-      ((Ascii (true, false, true, false, false, true, true, false)), (String
-      ((Ascii (false, true, false, false, true, true, true, false)), (String
-      ((Ascii (true, false, true, true, false, true, true, false)), (String
-      ((Ascii (true, false, false, true, false, true, true, false)), (String
-      ((Ascii (false, true, true, true, false, true, true, false)), (String
-      ((Ascii (true, false, false, false, false, true, true, false)), (String
-      ((Ascii (false, false, true, true, false, true, true, false)), (String
-      ((Ascii (false, false, true, true, false, false, true, false)), (String
-      ((Ascii (true, true, true, true, false, true, true, false)), (String
-      ((Ascii (true, true, false, false, false, true, true, false)), (String
-      ((Ascii (true, false, false, false, false, true, true, false)), (String
-      ((Ascii (false, false, true, false, true, true, true, false)), (String
-      ((Ascii (true, false, false, true, false, true, true, false)), (String
-      ((Ascii (true, true, true, true, false, true, true, false)), (String
-      ((Ascii (false, true, true, true, false, true, true, false)),
-      EmptyString)))))))))))))))))))))))))))))))) ((String ((Ascii (true,
-      true, false, false, true, true, true, false)), (String ((Ascii (false,
-      false, true, false, true, true, true, false)), (String ((Ascii (false,
-      true, false, false, true, true, true, false)), (String ((Ascii (true,
-      false, false, true, false, true, true, false)), (String ((Ascii (false,
-      true, true, true, false, true, true, false)), (String ((Ascii (true,
-      true, true, false, false, true, true, false)), (String ((Ascii (true,
-      true, false, false, true, true, true, false)), (String ((Ascii (false,
-      true, true, true, false, true, false, false)), (String ((Ascii (false,
-      false, true, false, true, false, true, false)), (String ((Ascii (false,
-      true, false, false, true, true, true, false)), (String ((Ascii (true,
-      false, false, true, false, true, true, false)), (String ((Ascii (true,
-      false, true, true, false, true, true, false)), (String ((Ascii (true,
-      true, false, false, true, false, true, false)), (String ((Ascii (false,
-      false, false, false, true, true, true, false)), (String ((Ascii (true,
-      false, false, false, false, true, true, false)), (String ((Ascii (true,
-      true, false, false, false, true, true, false)), (String ((Ascii (true,
-      false, true, false, false, true, true, false)),
-      EmptyString)))))))))))))))))))))))))))))))))) :: [])) :: ((mkcut (S (S
-                                                                  (S (S (S (S
-                                                                  (S (S (S (S
-                                                                  (S (S (S (S
-                                                                  (S (S (S (S
-                                                                  (S (S (S (S
-                                                                  (S (S (S (S
-                                                                  (S (S (S (S
-                                                                  (S (S (S (S
-                                                                  (S (S (S (S
-                                                                  (S (S (S (S
-                                                                  (S (S (S (S
-                                                                  (S (S (S (S
-                                                                  (S (S (S (S
-                                                                  (S (S (S (S
-                                                                  (S (S (S (S
-                                                                  O))))))))))))))))))))))))))))))))))))))))))))))))))))))))))))))
-                                                                  (S (S (S (S
-                                                                  (S (S (S (S
-                                                                  (S (S (S (S
-                                                                  (S (S (S (S
-                                                                  (S (S (S (S
-                                                                  (S (S (S (S
-                                                                  (S (S (S (S
-                                                                  (S (S (S (S
-                                                                  (S (S (S (S
-                                                                  (S (S (S (S
-                                                                  (S (S (S (S
-                                                                  (S (S (S (S
-                                                                  (S (S (S (S
-                                                                  (S (S (S (S
-                                                                  (S (S (S (S
-                                                                  (S (S (S (S
-                                                                  (S (S (S (S
-                                                                  (S (S (S (S
-                                                                  (S (S (S (S
-                                                                  (S
-                                                                  O)))))))))))))))))))))))))))))))))))))))))))))))))))))))))))))))))))))))))))))
-                                                                  (String
-                                                                  ((Ascii
-                                                                  (false,
-                                                                  false,
-                                                                  true,
-                                                                  false,
-                                                                  true,
-                                                                  false,
-                                                                  true,
-                                                                  false)),
-                                                                  (String
-                                                                  ((Ascii
-                                                                  (true,
-                                                                  false,
-                                                                  true,
-                                                                  false,
-                                                                  false,
-                                                                  true, true,
-                                                                  false)),
-                                                                  (String
-                                                                  ((Ascii
-                                                                  (false,
-                                                                  true,
-                                                                  false,
-                                                                  false,
-                                                                  true, true,
-                                                                  true,
-                                                                  false)),
-                                                                  (String
-                                                                  ((Ascii
-                                                                  (true,
-                                                                  false,
-                                                                  true, true,
-                                                                  false,
-                                                                  true, true,
-                                                                  false)),
-                                                                  (String
-                                                                  ((Ascii
-                                                                  (true,
-                                                                  false,
-                                                                  false,
-                                                                  true,
-                                                                  false,
-                                                                  true, true,
-                                                                  false)),
-                                                                  (String
-                                                                  ((Ascii
-                                                                  (false,
-                                                                  true, true,
-                                                                  true,
-                                                                  false,
-                                                                  true, true,
-                                                                  false)),
-                                                                  (String
-                                                                  ((Ascii
-                                                                  (true,
-                                                                  false,
-                                                                  false,
-                                                                  false,
-                                                                  false,
-                                                                  true, true,
-                                                                  false)),
-                                                                  (String
-                                                                  ((Ascii
-                                                                  (false,
-                                                                  false,
-                                                                  true, true,
-                                                                  false,
-                                                                  true, true,
-                                                                  false)),
-                                                                  (String
-                                                                  ((Ascii
-                                                                  (true,
-                                                                  true,
-                                                                  false,
-                                                                  false,
-                                                                  false,
-                                                                  false,
-                                                                  true,
-                                                                  false)),
-                                                                  (String
-                                                                  ((Ascii
-                                                                  (true,
-                                                                  false,
-                                                                  false,
-                                                                  true,
-                                                                  false,
-                                                                  true, true,
-                                                                  false)),
-                                                                  (String
-                                                                  ((Ascii
-                                                                  (false,
-                                                                  false,
-                                                                  true,
-                                                                  false,
-                                                                  true, true,
-                                                                  true,
-                                                                  false)),
-                                                                  (String
-                                                                  ((Ascii
-                                                                  (true,
-                                                                  false,
-                                                                  false,
-                                                                  true, true,
-                                                                  true, true,
-                                                                  false)),
-                                                                  EmptyString))))))))))))))))))))))))
-                                                                  ((String
-                                                                  ((Ascii
-                                                                  (true,
-                                                                  true,
-                                                                  false,
-                                                                  false,
-                                                                  true, true,
-                                                                  true,
-                                                                  false)),
-                                                                  (String
-                                                                  ((Ascii
-                                                                  (false,
-                                                                  false,
-                                                                  true,
-                                                                  false,
-                                                                  true, true,
-                                                                  true,
-                                                                  false)),
-                                                                  (String
-                                                                  ((Ascii
-                                                                  (false,
-                                                                  true,
-                                                                  false,
-                                                                  false,
-                                                                  true, true,
-                                                                  true,
-                                                                  false)),
-                                                                  (String
-                                                                  ((Ascii
-                                                                  (true,
-                                                                  false,
-                                                                  false,
-                                                                  true,
-                                                                  false,
-                                                                  true, true,
-                                                                  false)),
-                                                                  (String
-                                                                  ((Ascii
-                                                                  (false,
-                                                                  true, true,
-                                                                  true,
-                                                                  false,
-                                                                  true, true,
-                                                                  false)),
-                                                                  (String
-                                                                  ((Ascii
-                                                                  (true,
-                                                                  true, true,
-                                                                  false,
-                                                                  false,
-                                                                  true, true,
-                                                                  false)),
-                                                                  (String
-                                                                  ((Ascii
-                                                                  (true,
-                                                                  true,
-                                                                  false,
-                                                                  false,
-                                                                  true, true,
-                                                                  true,
-                                                                  false)),
-                                                                  (String
-                                                                  ((Ascii
-                                                                  (false,
-                                                                  true, true,
-                                                                  true,
-                                                                  false,
-                                                                  true,
-                                                                  false,
-                                                                  false)),
-                                                                  (String
-                                                                  ((Ascii
-                                                                  (false,
-                                                                  false,
-                                                                  true,
-                                                                  false,
-                                                                  true,
-                                                                  false,
-                                                                  true,
-                                                                  false)),
-                                                                  (String
-                                                                  ((Ascii
-                                                                  (false,
-                                                                  true,
-                                                                  false,
-                                                                  false,
-                                                                  true, true,
-                                                                  true,
-                                                                  false)),
-                                                                  (String
-                                                                  ((Ascii
-                                                                  (true,
-                                                                  false,
-                                                                  false,
-                                                                  true,
-                                                                  false,
-                                                                  true, true,
-                                                                  false)),
-                                                                  (String
-                                                                  ((Ascii
-                                                                  (true,
-                                                                  false,
-                                                                  true, true,
-                                                                  false,
-                                                                  true, true,
-                                                                  false)),
-                                                                  (String
-                                                                  ((Ascii
-                                                                  (true,
-                                                                  true,
-                                                                  false,
-                                                                  false,
-                                                                  true,
-                                                                  false,
-                                                                  true,
-                                                                  false)),
-                                                                  (String
-                                                                  ((Ascii
-                                                                  (false,
-                                                                  false,
-                                                                  false,
-                                                                  false,
-                                                                  true, true,
-                                                                  true,
-                                                                  false)),
-                                                                  (String
-                                                                  ((Ascii
-                                                                  (true,
-                                                                  false,
-                                                                  false,
-                                                                  false,
-                                                                  false,
-                                                                  true, true,
-                                                                  false)),
-                                                                  (String
-                                                                  ((Ascii
-                                                                  (true,
-                                                                  true,
-                                                                  false,
-                                                                  false,
-                                                                  false,
-                                                                  true, true,
-                                                                  false)),
-                                                                  (String
-                                                                  ((Ascii
-                                                                  (true,
-                                                                  false,
-                                                                  true,
-                                                                  false,
-                                                                  false,
-                                                                  true, true,
-                                                                  false)),
-                                                                  EmptyString)))))))))))))))))))))))))))))))))) :: [])) :: (
-    (mkcut (S (S (S (S (S (S (S (S (S (S (S (S (S (S (S (S (S (S (S (S (S (S
-      (S (S (S (S (S (S (S (S (S (S (S (S (S (S (S (S (S (S (S (S (S (S (S (S
-      (S (S (S (S (S (S (S (S (S (S (S (S (S (S (S (S (S (S (S (S (S (S (S (S
-      (S (S (S (S (S (S (S
-      O)))))))))))))))))))))))))))))))))))))))))))))))))))))))))))))))))))))))))))))
-      (S (S (S (S (S (S (S (S (S (S (S (S (S (S (S (S (S (S (S (S (S (S (S (S
-      (S (S (S (S (S (S (S (S (S (S (S (S (S (S (S (S (S (S (S (S (S (S (S (S
-      (S (S (S (S (S (S (S (S (S (S (S (S (S (S (S (S (S (S (S (S (S (S (S (S
-      (S (S (S (S (S (S (S
-      O)))))))))))))))))))))))))))))))))))))))))))))))))))))))))))))))))))))))))))))))
-      (String ((Ascii (false, false, true, false, true, false, true, false)),
-      (String ((Ascii (true, false, true, false, false, true, true, false)),
-      (String ((Ascii (false, true, false, false, true, true, true, false)),
-      (String ((Ascii (true, false, true, true, false, true, true, false)),
-      (String ((Ascii (true, false, false, true, false, true, true, false)),
-      (String ((Ascii (false, true, true, true, false, true, true, false)),
-      (String ((Ascii (true, false, false, false, false, true, true, false)),
-      (String ((Ascii (false, false, true, true, false, true, true, false)),
-      (String ((Ascii (true, true, false, false, true, false, true, false)),
-      (String ((Ascii (false, false, true, false, true, true, true, false)),
-      (String ((Ascii (true, false, false, false, false, true, true, false)),
-      (String ((Ascii (false, false, true, false, true, true, true, false)),
-      (String ((Ascii (true, false, true, false, false, true, true, false)),
-      EmptyString)))))))))))))))))))))))))) ((String ((Ascii (true, true,
-      false, false, true, true, true, false)), (String ((Ascii (false, false,
-      true, false, true, true, true, false)), (String ((Ascii (false, true,
-      false, false, true, true, true, false)), (String ((Ascii (true, false,
-      false, true, false, true, true, false)), (String ((Ascii (false, true,
-      true, true, false, true, true, false)), (String ((Ascii (true, true,
-      true, false, false, true, true, false)), (String ((Ascii (true, true,
-      false, false, true, true, true, false)), (String ((Ascii (false, true,
-      true, true, false, true, false, false)), (String ((Ascii (false, false,
-      true, false, true, false, true, false)), (String ((Ascii (false, true,
-      false, false, true, true, true, false)), (String ((Ascii (true, false,
-      false, true, false, true, true, false)), (String ((Ascii (true, false,
-      true, true, false, true, true, false)), (String ((Ascii (true, true,
-      false, false, true, false, true, false)), (String ((Ascii (false,
-      false, false, false, true, true, true, false)), (String ((Ascii (true,
-      false, false, false, false, true, true, false)), (String ((Ascii (true,
-      true, false, false, false, true, true, false)), (String ((Ascii (true,
-      false, true, false, false, true, true, false)),
-      EmptyString)))))))))))))))))))))))))))))))))) :: [])) :: ((mkcut (S (S
-                                                                  (S (S (S (S
-                                                                  (S (S (S (S
-                                                                  (S (S (S (S
-                                                                  (S (S (S (S
-                                                                  (S (S (S (S
-                                                                  (S (S (S (S
-                                                                  (S (S (S (S
-                                                                  (S (S (S (S
-                                                                  (S (S (S (S
-                                                                  (S (S (S (S
-                                                                  (S (S (S (S
-                                                                  (S (S (S (S
-                                                                  (S (S (S (S
-                                                                  (S (S (S (S
-                                                                  (S (S (S (S
-                                                                  (S (S (S (S
-                                                                  (S (S (S (S
-                                                                  (S (S (S (S
-                                                                  (S (S (S (S
-                                                                  (S
-                                                                  O)))))))))))))))))))))))))))))))))))))))))))))))))))))))))))))))))))))))))))))))
-                                                                  (S (S (S (S
-                                                                  (S (S (S (S
-                                                                  (S (S (S (S
-                                                                  (S (S (S (S
-                                                                  (S (S (S (S
-                                                                  (S (S (S (S
-                                                                  (S (S (S (S
-                                                                  (S (S (S (S
-                                                                  (S (S (S (S
-                                                                  (S (S (S (S
-                                                                  (S (S (S (S
-                                                                  (S (S (S (S
-                                                                  (S (S (S (S
-                                                                  (S (S (S (S
-                                                                  (S (S (S (S
-                                                                  (S (S (S (S
-                                                                  (S (S (S (S
-                                                                  (S (S (S (S
-                                                                  (S (S (S (S
-                                                                  (S (S (S (S
-                                                                  (S (S (S (S
-                                                                  (S (S (S (S
-                                                                  (S (S (S (S
-                                                                  (S (S
-                                                                  O))))))))))))))))))))))))))))))))))))))))))))))))))))))))))))))))))))))))))))))))))))))))))))))
-                                                                  (String
-                                                                  ((Ascii
-                                                                  (false,
-                                                                  false,
-                                                                  true,
-                                                                  false,
-                                                                  true,
-                                                                  false,
-                                                                  true,
-                                                                  false)),
-                                                                  (String
-                                                                  ((Ascii
-                                                                  (false,
-                                                                  true,
-                                                                  false,
-                                                                  false,
-                                                                  true, true,
-                                                                  true,
-                                                                  false)),
-                                                                  (String
-                                                                  ((Ascii
-                                                                  (true,
-                                                                  false,
-                                                                  false,
-                                                                  false,
-                                                                  false,
-                                                                  true, true,
-                                                                  false)),
-                                                                  (String
-                                                                  ((Ascii
-                                                                  (true,
-                                                                  true,
-                                                                  false,
-                                                                  false,
-                                                                  false,
-                                                                  true, true,
-                                                                  false)),
-                                                                  (String
-                                                                  ((Ascii
-                                                                  (true,
-                                                                  false,
-                                                                  true,
-                                                                  false,
-                                                                  false,
-                                                                  true, true,
-                                                                  false)),
-                                                                  (String
-                                                                  ((Ascii
-                                                                  (false,
-                                                                  true, true,
-                                                                  true,
-                                                                  false,
-                                                                  false,
-                                                                  true,
-                                                                  false)),
-                                                                  (String
-                                                                  ((Ascii
-                                                                  (true,
-                                                                  false,
-                                                                  true,
-                                                                  false,
-                                                                  true, true,
-                                                                  true,
-                                                                  false)),
-                                                                  (String
-                                                                  ((Ascii
-                                                                  (true,
-                                                                  false,
-                                                                  true, true,
-                                                                  false,
-                                                                  true, true,
-                                                                  false)),
-                                                                  (String
-                                                                  ((Ascii
-                                                                  (false,
-                                                                  true,
-                                                                  false,
-                                                                  false,
-                                                                  false,
-                                                                  true, true,
-                                                                  false)),
-                                                                  (String
-                                                                  ((Ascii
-                                                                  (true,
-                                                                  false,
-                                                                  true,
-                                                                  false,
-                                                                  false,
-                                                                  true, true,
-                                                                  false)),
-                                                                  (String
-                                                                  ((Ascii
-                                                                  (false,
-                                                                  true,
-                                                                  false,
-                                                                  false,
-                                                                  true, true,
-                                                                  true,
-                                                                  false)),
-                                                                  EmptyString))))))))))))))))))))))
-                                                                  ((String
-                                                                  ((Ascii
-                                                                  (true,
-                                                                  true,
-                                                                  false,
-                                                                  false,
-                                                                  true, true,
-                                                                  true,
-                                                                  false)),
-                                                                  (String
-                                                                  ((Ascii
-                                                                  (false,
-                                                                  false,
-                                                                  true,
-                                                                  false,
-                                                                  true, true,
-                                                                  true,
-                                                                  false)),
-                                                                  (String
-                                                                  ((Ascii
-                                                                  (false,
-                                                                  true,
-                                                                  false,
-                                                                  false,
-                                                                  true, true,
-                                                                  true,
-                                                                  false)),
-                                                                  (String
-                                                                  ((Ascii
-                                                                  (true,
-                                                                  false,
-                                                                  false,
-                                                                  true,
-                                                                  false,
-                                                                  true, true,
-                                                                  false)),
-                                                                  (String
-                                                                  ((Ascii
-                                                                  (false,
-                                                                  true, true,
-                                                                  true,
-                                                                  false,
-                                                                  true, true,
-                                                                  false)),
-                                                                  (String
-                                                                  ((Ascii
-                                                                  (true,
-                                                                  true, true,
-                                                                  false,
-                                                                  false,
-                                                                  true, true,
-                                                                  false)),
-                                                                  (String
-                                                                  ((Ascii
-                                                                  (true,
-                                                                  true,
-                                                                  false,
-                                                                  false,
-                                                                  true, true,
-                                                                  true,
-                                                                  false)),
-                                                                  (String
-                                                                  ((Ascii
-                                                                  (false,
-                                                                  true, true,
-                                                                  true,
-                                                                  false,
-                                                                  true,
-                                                                  false,
-                                                                  false)),
-                                                                  (String
-                                                                  ((Ascii
-                                                                  (false,
-                                                                  false,
-                                                                  true,
-                                                                  false,
-                                                                  true,
-                                                                  false,
-                                                                  true,
-                                                                  false)),
-                                                                  (String
-                                                                  ((Ascii
-                                                                  (false,
-                                                                  true,
-                                                                  false,
-                                                                  false,
-                                                                  true, true,
-                                                                  true,
-                                                                  false)),
-                                                                  (String
-                                                                  ((Ascii
-                                                                  (true,
-                                                                  false,
-                                                                  false,
-                                                                  true,
-                                                                  false,
-                                                                  true, true,
-                                                                  false)),
-                                                                  (String
-                                                                  ((Ascii
-                                                                  (true,
-                                                                  false,
-                                                                  true, true,
-                                                                  false,
-                                                                  true, true,
-                                                                  false)),
-                                                                  (String
-                                                                  ((Ascii
-                                                                  (true,
-                                                                  true,
-                                                                  false,
-                                                                  false,
-                                                                  true,
-                                                                  false,
-                                                                  true,
-                                                                  false)),
-                                                                  (String
-                                                                  ((Ascii
-                                                                  (false,
-                                                                  false,
-                                                                  false,
-                                                                  false,
-                                                                  true, true,
-                                                                  true,
-                                                                  false)),
-                                                                  (String
-                                                                  ((Ascii
-                                                                  (true,
-                                                                  false,
-                                                                  false,
-                                                                  false,
-                                                                  false,
-                                                                  true, true,
-                                                                  false)),
-                                                                  (String
-                                                                  ((Ascii
-                                                                  (true,
-                                                                  true,
-                                                                  false,
-                                                                  false,
-                                                                  false,
-                                                                  true, true,
-                                                                  false)),
-                                                                  (String
-                                                                  ((Ascii
-                                                                  (true,
-                                                                  false,
-                                                                  true,
-                                                                  false,
-                                                                  false,
-                                                                  true, true,
-                                                                  false)),
-                                                                  EmptyString)))))))))))))))))))))))))))))))))) :: [])) :: [])))))))))))) }
-
-(** val l_Addenda05 : layout **)
-
-let l_Addenda05 =
-  { l_name = (String ((Ascii (true, false, false, false, false, false, true,
-    false)), (String ((Ascii (false, false, true, false, false, true, true,
-    false)), (String ((Ascii (false, false, true, false, false, true, true,
-    false)), (String ((Ascii (true, false, true, false, false, true, true,
-    false)), (String ((Ascii (false, true, true, true, false, true, true,
-    false)), (String ((Ascii (false, false, true, false, false, true, true,
-    false)), (String ((Ascii (true, false, false, false, false, true, true,
-    false)), (String ((Ascii (false, false, false, false, true, true, false,
-    false)), (String ((Ascii (true, false, true, false, true, true, false,
-    false)), EmptyString)))))))))))))))))); l_ix = IRune; l_segs = ((SLit
-    ((Npos (XI (XI (XI (XO (XI XH)))))) :: [])) :: ((SRaw (String ((Ascii
-    (false, false, true, false, true, false, true, false)), (String ((Ascii
-    (true, false, false, true, true, true, true, false)), (String ((Ascii
-    (false, false, false, false, true, true, true, false)), (String ((Ascii
-    (true, false, true, false, false, true, true, false)), (String ((Ascii
-    (true, true, false, false, false, false, true, false)), (String ((Ascii
-    (true, true, true, true, false, true, true, false)), (String ((Ascii
-    (false, false, true, false, false, true, true, false)), (String ((Ascii
-    (true, false, true, false, false, true, true, false)),
-    EmptyString))))))))))))))))) :: ((SAlpha ((String ((Ascii (false, false,
-    false, false, true, false, true, false)), (String ((Ascii (true, false,
-    false, false, false, true, true, false)), (String ((Ascii (true, false,
-    false, true, true, true, true, false)), (String ((Ascii (true, false,
-    true, true, false, true, true, false)), (String ((Ascii (true, false,
-    true, false, false, true, true, false)), (String ((Ascii (false, true,
-    true, true, false, true, true, false)), (String ((Ascii (false, false,
-    true, false, true, true, true, false)), (String ((Ascii (false, true,
-    false, false, true, false, true, false)), (String ((Ascii (true, false,
-    true, false, false, true, true, false)), (String ((Ascii (false, false,
-    true, true, false, true, true, false)), (String ((Ascii (true, false,
-    false, false, false, true, true, false)), (String ((Ascii (false, false,
-    true, false, true, true, true, false)), (String ((Ascii (true, false,
-    true, false, false, true, true, false)), (String ((Ascii (false, false,
-    true, false, false, true, true, false)), (String ((Ascii (true, false,
-    false, true, false, false, true, false)), (String ((Ascii (false, true,
-    true, true, false, true, true, false)), (String ((Ascii (false, true,
-    true, false, false, true, true, false)), (String ((Ascii (true, true,
-    true, true, false, true, true, false)), (String ((Ascii (false, true,
-    false, false, true, true, true, false)), (String ((Ascii (true, false,
-    true, true, false, true, true, false)), (String ((Ascii (true, false,
-    false, false, false, true, true, false)), (String ((Ascii (false, false,
-    true, false, true, true, true, false)), (String ((Ascii (true, false,
-    false, true, false, true, true, false)), (String ((Ascii (true, true,
-    true, true, false, true, true, false)), (String ((Ascii (false, true,
-    true, true, false, true, true, false)),
-    EmptyString)))))))))))))))))))))))))))))))))))))))))))))))))), (S (S (S
-    (S (S (S (S (S (S (S (S (S (S (S (S (S (S (S (S (S (S (S (S (S (S (S (S
-    (S (S (S (S (S (S (S (S (S (S (S (S (S (S (S (S (S (S (S (S (S (S (S (S
-    (S (S (S (S (S (S (S (S (S (S (S (S (S (S (S (S (S (S (S (S (S (S (S (S
-    (S (S (S (S (S
-    O)))))))))))))))))))))))))))))))))))))))))))))))))))))))))))))))))))))))))))))))))) :: ((SNum
-    ((String ((Ascii (true, true, false, false, true, false, true, false)),
-    (String ((Ascii (true, false, true, false, false, true, true, false)),
-    (String ((Ascii (true, false, false, false, true, true, true, false)),
-    (String ((Ascii (true, false, true, false, true, true, true, false)),
-    (String ((Ascii (true, false, true, false, false, true, true, false)),
-    (String ((Ascii (false, true, true, true, false, true, true, false)),
-    (String ((Ascii (true, true, false, false, false, true, true, false)),
-    (String ((Ascii (true, false, true, false, false, true, true, false)),
-    (String ((Ascii (false, true, true, true, false, false, true, false)),
-    (String ((Ascii (true, false, true, false, true, true, true, false)),
-    (String ((Ascii (true, false, true, true, false, true, true, false)),
-    (String ((Ascii (false, true, false, false, false, true, true, false)),
-    (String ((Ascii (true, false, true, false, false, true, true, false)),
-    (String ((Ascii (false, true, false, false, true, true, true, false)),
-    EmptyString)))))))))))))))))))))))))))), (S (S (S (S O)))))) :: ((SNum
-    ((String ((Ascii (true, false, true, false, false, false, true, false)),
-    (String ((Ascii (false, true, true, true, false, true, true, false)),
-    (String ((Ascii (false, false, true, false, true, true, true, false)),
-    (String ((Ascii (false, true, false, false, true, true, true, false)),
-    (String ((Ascii (true, false, false, true, true, true, true, false)),
-    (String ((Ascii (false, false, true, false, false, false, true, false)),
-    (String ((Ascii (true, false, true, false, false, true, true, false)),
-    (String ((Ascii (false, false, true, false, true, true, true, false)),
-    (String ((Ascii (true, false, false, false, false, true, true, false)),
-    (String ((Ascii (true, false, false, true, false, true, true, false)),
-    (String ((Ascii (false, false, true, true, false, true, true, false)),
-    (String ((Ascii (true, true, false, false, true, false, true, false)),
-    (String ((Ascii (true, false, true, false, false, true, true, false)),
-    (String ((Ascii (true, false, false, false, true, true, true, false)),
-    (String ((Ascii (true, false, true, false, true, true, true, false)),
-    (String ((Ascii (true, false, true, false, false, true, true, false)),
-    (String ((Ascii (false, true, true, true, false, true, true, false)),
-    (String ((Ascii (true, true, false, false, false, true, true, false)),
-    (String ((Ascii (true, false, true, false, false, true, true, false)),
-    (String ((Ascii (false, true, true, true, false, false, true, false)),
-    (String ((Ascii (true, false, true, false, true, true, true, false)),
-    (String ((Ascii (true, false, true, true, false, true, true, false)),
-    (String ((Ascii (false, true, false, false, false, true, true, false)),
-    (String ((Ascii (true, false, true, false, false, true, true, false)),
-    (String ((Ascii (false, true, false, false, true, true, true, false)),
-    EmptyString)))))))))))))))))))))))))))))))))))))))))))))))))), (S (S (S
-    (S (S (S (S O))))))))) :: []))))); l_cuts =
-    ((mkcut O (S O) EmptyString []) :: ((mkcut (S O) (S (S (S O))) (String
-                                          ((Ascii (false, false, true, false,
-                                          true, false, true, false)), (String
-                                          ((Ascii (true, false, false, true,
-                                          true, true, true, false)), (String
-                                          ((Ascii (false, false, false,
-                                          false, true, true, true, false)),
-                                          (String ((Ascii (true, false, true,
-                                          false, false, true, true, false)),
-                                          (String ((Ascii (true, true, false,
-                                          false, false, false, true, false)),
-                                          (String ((Ascii (true, true, true,
-                                          true, false, true, true, false)),
-                                          (String ((Ascii (false, false,
-                                          true, false, false, true, true,
-                                          false)), (String ((Ascii (true,
-                                          false, true, false, false, true,
-                                          true, false)),
-                                          EmptyString)))))))))))))))) []) :: (
-    (mkcut (S (S (S O))) (S (S (S (S (S (S (S (S (S (S (S (S (S (S (S (S (S
-      (S (S (S (S (S (S (S (S (S (S (S (S (S (S (S (S (S (S (S (S (S (S (S (S
-      (S (S (S (S (S (S (S (S (S (S (S (S (S (S (S (S (S (S (S (S (S (S (S (S
-      (S (S (S (S (S (S (S (S (S (S (S (S (S (S (S (S (S (S
-      O)))))))))))))))))))))))))))))))))))))))))))))))))))))))))))))))))))))))))))))))))))
-      (String ((Ascii (false, false, false, false, true, false, true,
-      false)), (String ((Ascii (true, false, false, false, false, true, true,
-      false)), (String ((Ascii (true, false, false, true, true, true, true,
-      false)), (String ((Ascii (true, false, true, true, false, true, true,
-      false)), (String ((Ascii (true, false, true, false, false, true, true,
-      false)), (String ((Ascii (false, true, true, true, false, true, true,
-      false)), (String ((Ascii (false, false, true, false, true, true, true,
-      false)), (String ((Ascii (false, true, false, false, true, false, true,
-      false)), (String ((Ascii (true, false, true, false, false, true, true,
-      false)), (String ((Ascii (false, false, true, true, false, true, true,
-      false)), (String ((Ascii (true, false, false, false, false, true, true,
-      false)), (String ((Ascii (false, false, true, false, true, true, true,
-      false)), (String ((Ascii (true, false, true, false, false, true, true,
-      false)), (String ((Ascii (false, false, true, false, false, true, true,
-      false)), (String ((Ascii (true, false, false, true, false, false, true,
-      false)), (String ((Ascii (false, true, true, true, false, true, true,
-      false)), (String ((Ascii (false, true, true, false, false, true, true,
-      false)), (String ((Ascii (true, true, true, true, false, true, true,
-      false)), (String ((Ascii (false, true, false, false, true, true, true,
-      false)), (String ((Ascii (true, false, true, true, false, true, true,
-      false)), (String ((Ascii (true, false, false, false, false, true, true,
-      false)), (String ((Ascii (false, false, true, false, true, true, true,
-      false)), (String ((Ascii (true, false, false, true, false, true, true,
-      false)), (String ((Ascii (true, true, true, true, false, true, true,
-      false)), (String ((Ascii (false, true, true, true, false, true, true,
-      false)), EmptyString))))))))))))))))))))))))))))))))))))))))))))))))))
-      ((String ((Ascii (true, true, false, false, true, true, true, false)),
-      (String ((Ascii (false, false, true, false, true, true, true, false)),
-      (String ((Ascii (false, true, false, false, true, true, true, false)),
-      (String ((Ascii (true, false, false, true, false, true, true, false)),
-      (String ((Ascii (false, true, true, true, false, true, true, false)),
-      (String ((Ascii (true, true, true, false, false, true, true, false)),
-      (String ((Ascii (true, true, false, false, true, true, true, false)),
-      (String ((Ascii (false, true, true, true, false, true, false, false)),
-      (String ((Ascii (false, false, true, false, true, false, true, false)),
-      (String ((Ascii (false, true, false, false, true, true, true, false)),
-      (String ((Ascii (true, false, false, true, false, true, true, false)),
-      (String ((Ascii (true, false, true, true, false, true, true, false)),
-      (String ((Ascii (true, true, false, false, true, false, true, false)),
-      (String ((Ascii (false, false, false, false, true, true, true, false)),
-      (String ((Ascii (true, false, false, false, false, true, true, false)),
-      (String ((Ascii (true, true, false, false, false, true, true, false)),
-      (String ((Ascii (true, false, true, false, false, true, true, false)),
-      EmptyString)))))))))))))))))))))))))))))))))) :: [])) :: ((mkcut (S (S
-                                                                  (S (S (S (S
-                                                                  (S (S (S (S
-                                                                  (S (S (S (S
-                                                                  (S (S (S (S
-                                                                  (S (S (S (S
-                                                                  (S (S (S (S
-                                                                  (S (S (S (S
-                                                                  (S (S (S (S
-                                                                  (S (S (S (S
-                                                                  (S (S (S (S
-                                                                  (S (S (S (S
-                                                                  (S (S (S (S
-                                                                  (S (S (S (S
-                                                                  (S (S (S (S
-                                                                  (S (S (S (S
-                                                                  (S (S (S (S
-                                                                  (S (S (S (S
-                                                                  (S (S (S (S
-                                                                  (S (S (S (S
-                                                                  (S (S (S (S
-                                                                  (S
-                                                                  O)))))))))))))))))))))))))))))))))))))))))))))))))))))))))))))))))))))))))))))))))))
-                                                                  (S (S (S (S
-                                                                  (S (S (S (S
-                                                                  (S (S (S (S
-                                                                  (S (S (S (S
-                                                                  (S (S (S (S
-                                                                  (S (S (S (S
-                                                                  (S (S (S (S
-                                                                  (S (S (S (S
-                                                                  (S (S (S (S
-                                                                  (S (S (S (S
-                                                                  (S (S (S (S
-                                                                  (S (S (S (S
-                                                                  (S (S (S (S
-                                                                  (S (S (S (S
-                                                                  (S (S (S (S
-                                                                  (S (S (S (S
-                                                                  (S (S (S (S
-                                                                  (S (S (S (S
-                                                                  (S (S (S (S
-                                                                  (S (S (S (S
-                                                                  (S (S (S (S
-                                                                  (S (S (S
-                                                                  O)))))))))))))))))))))))))))))))))))))))))))))))))))))))))))))))))))))))))))))))))))))))
-                                                                  (String
-                                                                  ((Ascii
-                                                                  (true,
-                                                                  true,
-                                                                  false,
-                                                                  false,
-                                                                  true,
-                                                                  false,
-                                                                  true,
-                                                                  false)),
-                                                                  (String
-                                                                  ((Ascii
-                                                                  (true,
-                                                                  false,
-                                                                  true,
-                                                                  false,
-                                                                  false,
-                                                                  true, true,
-                                                                  false)),
-                                                                  (String
-                                                                  ((Ascii
-                                                                  (true,
-                                                                  false,
-                                                                  false,
-                                                                  false,
-                                                                  true, true,
-                                                                  true,
-                                                                  false)),
-                                                                  (String
-                                                                  ((Ascii
-                                                                  (true,
-                                                                  false,
-                                                                  true,
-                                                                  false,
-                                                                  true, true,
-                                                                  true,
-                                                                  false)),
-                                                                  (String
-                                                                  ((Ascii
-                                                                  (true,
-                                                                  false,
-                                                                  true,
-                                                                  false,
-                                                                  false,
-                                                                  true, true,
-                                                                  false)),
-                                                                  (String
-                                                                  ((Ascii
-                                                                  (false,
-                                                                  true, true,
-                                                                  true,
-                                                                  false,
-                                                                  true, true,
-                                                                  false)),
-                                                                  (String
-                                                                  ((Ascii
-                                                                  (true,
-                                                                  true,
-                                                                  false,
-                                                                  false,
-                                                                  false,
-                                                                  true, true,
-                                                                  false)),
-                                                                  (String
-                                                                  ((Ascii
-                                                                  (true,
-                                                                  false,
-                                                                  true,
-                                                                  false,
-                                                                  false,
-                                                                  true, true,
-                                                                  false)),
-                                                                  (String
-                                                                  ((Ascii
-                                                                  (false,
-                                                                  true, true,
-                                                                  true,
-                                                                  false,
-                                                                  false,
-                                                                  true,
-                                                                  false)),
-                                                                  (String
-                                                                  ((Ascii
-                                                                  (true,
-                                                                  false,
-                                                                  true,
-                                                                  false,
-                                                                  true, true,
-                                                                  true,
-                                                                  false)),
-                                                                  (String
-                                                                  ((Ascii
-                                                                  (true,
-                                                                  false,
-                                                                  true, true,
-                                                                  false,
-                                                                  true, true,
-                                                                  false)),
-                                                                  (String
-                                                                  ((Ascii
-                                                                  (false,
-                                                                  true,
-                                                                  false,
-                                                                  false,
-                                                                  false,
-                                                                  true, true,
-                                                                  false)),
-                                                                  (String
-                                                                  ((Ascii
-                                                                  (true,
-                                                                  false,
-                                                                  true,
-                                                                  false,
-                                                                  false,
-                                                                  true, true,
-                                                                  false)),
-                                                                  (String
-                                                                  ((Ascii
-                                                                  (false,
-                                                                  true,
-                                                                  false,
-                                                                  false,
-                                                                  true, true,
-                                                                  true,
-                                                                  false)),
-                                                                  EmptyString))))))))))))))))))))))))))))
-                                                                  ((String
-                                                                  ((Ascii
-                                                                  (false,
-                                                                  false,
-                                                                  false,
-                                                                  false,
-                                                                  true, true,
-                                                                  true,
-                                                                  false)),
-                                                                  (String
-                                                                  ((Ascii
-                                                                  (true,
-                                                                  false,
-                                                                  false,
-                                                                  false,
-                                                                  false,
-                                                                  true, true,
-                                                                  false)),
-                                                                  (String
-                                                                  ((Ascii
-                                                                  (false,
-                                                                  true,
-                                                                  false,
-                                                                  false,
-                                                                  true, true,
-                                                                  true,
-                                                                  false)),
-                                                                  (String
-                                                                  ((Ascii
-                                                                  (true,
-                                                                  true,
-                                                                  false,
-                                                                  false,
-                                                                  true, true,
-                                                                  true,
-                                                                  false)),
-                                                                  (String
-                                                                  ((Ascii
-                                                                  (true,
-                                                                  false,
-                                                                  true,
-                                                                  false,
-                                                                  false,
-                                                                  true, true,
-                                                                  false)),
-                                                                  (String
-                                                                  ((Ascii
-                                                                  (false,
-                                                                  true, true,
-                                                                  true,
-                                                                  false,
-                                                                  false,
-                                                                  true,
-                                                                  false)),
-                                                                  (String
-                                                                  ((Ascii
-                                                                  (true,
-                                                                  false,
-                                                                  true,
-                                                                  false,
-                                                                  true, true,
-                                                                  true,
-                                                                  false)),
-                                                                  (String
-                                                                  ((Ascii
-                                                                  (true,
-                                                                  false,
-                                                                  true, true,
-                                                                  false,
-                                                                  true, true,
-                                                                  false)),
-                                                                  (String
-                                                                  ((Ascii
-                                                                  (false,
-                                                                  true, true,
-                                                                  false,
-                                                                  false,
-                                                                  false,
-                                                                  true,
-                                                                  false)),
-                                                                  (String
-                                                                  ((Ascii
-                                                                  (true,
-                                                                  false,
-                                                                  false,
-                                                                  true,
-                                                                  false,
-                                                                  true, true,
-                                                                  false)),
-                                                                  (String
-                                                                  ((Ascii
-                                                                  (true,
-                                                                  false,
-                                                                  true,
-                                                                  false,
-                                                                  false,
-                                                                  true, true,
-                                                                  false)),
-                                                                  (String
-                                                                  ((Ascii
-                                                                  (false,
-                                                                  false,
-                                                                  true, true,
-                                                                  false,
-                                                                  true, true,
-                                                                  false)),
-                                                                  (String
-                                                                  ((Ascii
-                                                                  (false,
-                                                                  false,
-                                                                  true,
-                                                                  false,
-                                                                  false,
-                                                                  true, true,
-                                                                  false)),
-                                                                  EmptyString)))))))))))))))))))))))))) :: [])) :: (
-    (mkcut (S (S (S (S (S (S (S (S (S (S (S (S (S (S (S (S (S (S (S (S (S (S
-      (S (S (S (S (S (S (S (S (S (S (S (S (S (S (S (S (S (S (S (S (S (S (S (S
-      (S (S (S (S (S (S (S (S (S (S (S (S (S (S (S (S (S (S (S (S (S (S (S (S
-      (S (S (S (S (S (S (S (S (S (S (S (S (S (S (S (S (S
-      O)))))))))))))))))))))))))))))))))))))))))))))))))))))))))))))))))))))))))))))))))))))))
-      (S (S (S (S (S (S (S (S (S (S (S (S (S (S (S (S (S (S (S (S (S (S (S (S
-      (S (S (S (S (S (S (S (S (S (S (S (S (S (S (S (S (S (S (S (S (S (S (S (S
-      (S (S (S (S (S (S (S (S (S (S (S (S (S (S (S (S (S (S (S (S (S (S (S (S
-      (S (S (S (S (S (S (S (S (S (S (S (S (S (S (S (S (S (S (S (S (S (S
-      O))))))))))))))))))))))))))))))))))))))))))))))))))))))))))))))))))))))))))))))))))))))))))))))
-      (String ((Ascii (true, false, true, false, false, false, true, false)),
-      (String ((Ascii (false, true, true, true, false, true, true, false)),
-      (String ((Ascii (false, false, true, false, true, true, true, false)),
-      (String ((Ascii (false, true, false, false, true, true, true, false)),
-      (String ((Ascii (true, false, false, true, true, true, true, false)),
-      (String ((Ascii (false, false, true, false, false, false, true,
-      false)), (String ((Ascii (true, false, true, false, false, true, true,
-      false)), (String ((Ascii (false, false, true, false, true, true, true,
-      false)), (String ((Ascii (true, false, false, false, false, true, true,
-      false)), (String ((Ascii (true, false, false, true, false, true, true,
-      false)), (String ((Ascii (false, false, true, true, false, true, true,
-      false)), (String ((Ascii (true, true, false, false, true, false, true,
-      false)), (String ((Ascii (true, false, true, false, false, true, true,
-      false)), (String ((Ascii (true, false, false, false, true, true, true,
-      false)), (String ((Ascii (true, false, true, false, true, true, true,
-      false)), (String ((Ascii (true, false, true, false, false, true, true,
-      false)), (String ((Ascii (false, true, true, true, false, true, true,
-      false)), (String ((Ascii (true, true, false, false, false, true, true,
-      false)), (String ((Ascii (true, false, true, false, false, true, true,
-      false)), (String ((Ascii (false, true, true, true, false, false, true,
-      false)), (String ((Ascii (true, false, true, false, true, true, true,
-      false)), (String ((Ascii (true, false, true, true, false, true, true,
-      false)), (String ((Ascii (false, true, false, false, false, true, true,
-      false)), (String ((Ascii (true, false, true, false, false, true, true,
-      false)), (String ((Ascii (false, true, false, false, true, true, true,
-      false)), EmptyString))))))))))))))))))))))))))))))))))))))))))))))))))
-      ((String ((Ascii (false, false, false, false, true, true, true,
-      false)), (String ((Ascii (true, false, false, false, false, true, true,
-      false)), (String ((Ascii (false, true, false, false, true, true, true,
-      false)), (String ((Ascii (true, true, false, false, true, true, true,
-      false)), (String ((Ascii (true, false, true, false, false, true, true,
-      false)), (String ((Ascii (false, true, true, true, false, false, true,
-      false)), (String ((Ascii (true, false, true, false, true, true, true,
-      false)), (String ((Ascii (true, false, true, true, false, true, true,
-      false)), (String ((Ascii (false, true, true, false, false, false, true,
-      false)), (String ((Ascii (true, false, false, true, false, true, true,
-      false)), (String ((Ascii (true, false, true, false, false, true, true,
-      false)), (String ((Ascii (false, false, true, true, false, true, true,
-      false)), (String ((Ascii (false, false, true, false, false, true, true,
-      false)), EmptyString)))))))))))))))))))))))))) :: [])) :: []))))) }
-
-(** val l_Addenda10 : layout **)
-
-let l_Addenda10 =
-  { l_name = (String ((Ascii (true, false, false, false, false, false, true,
-    false)), (String ((Ascii (false, false, true, false, false, true, true,
-    false)), (String ((Ascii (false, false, true, false, false, true, true,
-    false)), (String ((Ascii (true, false, true, false, false, true, true,
-    false)), (String ((Ascii (false, true, true, true, false, true, true,
-    false)), (String ((Ascii (false, false, true, false, false, true, true,
-    false)), (String ((Ascii (true, false, false, false, false, true, true,
-    false)), (String ((Ascii (true, false, false, false, true, true, false,
-    false)), (String ((Ascii (false, false, false, false, true, true, false,
-    false)), EmptyString)))))))))))))))))); l_ix = IRune; l_segs = ((SLit
-    ((Npos (XI (XI (XI (XO (XI XH)))))) :: [])) :: ((SRaw (String ((Ascii
-    (false, false, true, false, true, false, true, false)), (String ((Ascii
-    (true, false, false, true, true, true, true, false)), (String ((Ascii
-    (false, false, false, false, true, true, true, false)), (String ((Ascii
-    (true, false, true, false, false, true, true, false)), (String ((Ascii
-    (true, true, false, false, false, false, true, false)), (String ((Ascii
-    (true, true, true, true, false, true, true, false)), (String ((Ascii
-    (false, false, true, false, false, true, true, false)), (String ((Ascii
-    (true, false, true, false, false, true, true, false)),
-    EmptyString))))))))))))))))) :: ((SRaw (String ((Ascii (false, false,
-    true, false, true, false, true, false)), (String ((Ascii (false, true,
-    false, false, true, true, true, false)), (String ((Ascii (true, false,
-    false, false, false, true, true, false)), (String ((Ascii (false, true,
-    true, true, false, true, true, false)), (String ((Ascii (true, true,
-    false, false, true, true, true, false)), (String ((Ascii (true, false,
-    false, false, false, true, true, false)), (String ((Ascii (true, true,
-    false, false, false, true, true, false)), (String ((Ascii (false, false,
-    true, false, true, true, true, false)), (String ((Ascii (true, false,
-    false, true, false, true, true, false)), (String ((Ascii (true, true,
-    true, true, false, true, true, false)), (String ((Ascii (false, true,
-    true, true, false, true, true, false)), (String ((Ascii (false, false,
-    true, false, true, false, true, false)), (String ((Ascii (true, false,
-    false, true, true, true, true, false)), (String ((Ascii (false, false,
-    false, false, true, true, true, false)), (String ((Ascii (true, false,
-    true, false, false, true, true, false)), (String ((Ascii (true, true,
-    false, false, false, false, true, false)), (String ((Ascii (true, true,
-    true, true, false, true, true, false)), (String ((Ascii (false, false,
-    true, false, false, true, true, false)), (String ((Ascii (true, false,
-    true, false, false, true, true, false)),
-    EmptyString))))))))))))))))))))))))))))))))))))))) :: ((SNum ((String
-    ((Ascii (false, true, true, false, false, false, true, false)), (String
-    ((Ascii (true, true, true, true, false, true, true, false)), (String
-    ((Ascii (false, true, false, false, true, true, true, false)), (String
-    ((Ascii (true, false, true, false, false, true, true, false)), (String
-    ((Ascii (true, false, false, true, false, true, true, false)), (String
-    ((Ascii (true, true, true, false, false, true, true, false)), (String
-    ((Ascii (false, true, true, true, false, true, true, false)), (String
-    ((Ascii (false, false, false, false, true, false, true, false)), (String
-    ((Ascii (true, false, false, false, false, true, true, false)), (String
-    ((Ascii (true, false, false, true, true, true, true, false)), (String
-    ((Ascii (true, false, true, true, false, true, true, false)), (String
-    ((Ascii (true, false, true, false, false, true, true, false)), (String
-    ((Ascii (false, true, true, true, false, true, true, false)), (String
-    ((Ascii (false, false, true, false, true, true, true, false)), (String
-    ((Ascii (true, false, false, false, false, false, true, false)), (String
-    ((Ascii (true, false, true, true, false, true, true, false)), (String
-    ((Ascii (true, true, true, true, false, true, true, false)), (String
-    ((Ascii (true, false, true, false, true, true, true, false)), (String
-    ((Ascii (false, true, true, true, false, true, true, false)), (String
-    ((Ascii (false, false, true, false, true, true, true, false)),
-    EmptyString)))))))))))))))))))))))))))))))))))))))), (S (S (S (S (S (S (S
-    (S (S (S (S (S (S (S (S (S (S (S O)))))))))))))))))))) :: ((SAlpha
-    ((String ((Ascii (false, true, true, false, false, false, true, false)),
-    (String ((Ascii (true, true, true, true, false, true, true, false)),
-    (String ((Ascii (false, true, false, false, true, true, true, false)),
-    (String ((Ascii (true, false, true, false, false, true, true, false)),
-    (String ((Ascii (true, false, false, true, false, true, true, false)),
-    (String ((Ascii (true, true, true, false, false, true, true, false)),
-    (String ((Ascii (false, true, true, true, false, true, true, false)),
-    (String ((Ascii (false, false, true, false, true, false, true, false)),
-    (String ((Ascii (false, true, false, false, true, true, true, false)),
-    (String ((Ascii (true, false, false, false, false, true, true, false)),
-    (String ((Ascii (true, true, false, false, false, true, true, false)),
-    (String ((Ascii (true, false, true, false, false, true, true, false)),
-    (String ((Ascii (false, true, true, true, false, false, true, false)),
-    (String ((Ascii (true, false, true, false, true, true, true, false)),
-    (String ((Ascii (true, false, true, true, false, true, true, false)),
-    (String ((Ascii (false, true, false, false, false, true, true, false)),
-    (String ((Ascii (true, false, true, false, false, true, true, false)),
-    (String ((Ascii (false, true, false, false, true, true, true, false)),
-    EmptyString)))))))))))))))))))))))))))))))))))), (S (S (S (S (S (S (S (S
-    (S (S (S (S (S (S (S (S (S (S (S (S (S (S
-    O)))))))))))))))))))))))) :: ((SAlpha ((String ((Ascii (false, true,
-    true, true, false, false, true, false)), (String ((Ascii (true, false,
-    false, false, false, true, true, false)), (String ((Ascii (true, false,
-    true, true, false, true, true, false)), (String ((Ascii (true, false,
-    true, false, false, true, true, false)), EmptyString)))))))), (S (S (S (S
-    (S (S (S (S (S (S (S (S (S (S (S (S (S (S (S (S (S (S (S (S (S (S (S (S
-    (S (S (S (S (S (S (S O))))))))))))))))))))))))))))))))))))) :: ((SLit
-    ((Npos (XO (XO (XO (XO (XO XH)))))) :: ((Npos (XO (XO (XO (XO (XO
-    XH)))))) :: ((Npos (XO (XO (XO (XO (XO XH)))))) :: ((Npos (XO (XO (XO (XO
-    (XO XH)))))) :: ((Npos (XO (XO (XO (XO (XO XH)))))) :: ((Npos (XO (XO (XO
-    (XO (XO XH)))))) :: []))))))) :: ((SNum ((String ((Ascii (true, false,
-    true, false, false, false, true, false)), (String ((Ascii (false, true,
-    true, true, false, true, true, false)), (String ((Ascii (false, false,
-    true, false, true, true, true, false)), (String ((Ascii (false, true,
-    false, false, true, true, true, false)), (String ((Ascii (true, false,
-    false, true, true, true, true, false)), (String ((Ascii (false, false,
-    true, false, false, false, true, false)), (String ((Ascii (true, false,
-    true, false, false, true, true, false)), (String ((Ascii (false, false,
-    true, false, true, true, true, false)), (String ((Ascii (true, false,
-    false, false, false, true, true, false)), (String ((Ascii (true, false,
-    false, true, false, true, true, false)), (String ((Ascii (false, false,
-    true, true, false, true, true, false)), (String ((Ascii (true, true,
-    false, false, true, false, true, false)), (String ((Ascii (true, false,
-    true, false, false, true, true, false)), (String ((Ascii (true, false,
-    false, false, true, true, true, false)), (String ((Ascii (true, false,
-    true, false, true, true, true, false)), (String ((Ascii (true, false,
-    true, false, false, true, true, false)), (String ((Ascii (false, true,
-    true, true, false, true, true, false)), (String ((Ascii (true, true,
-    false, false, false, true, true, false)), (String ((Ascii (true, false,
-    true, false, false, true, true, false)), (String ((Ascii (false, true,
-    true, true, false, false, true, false)), (String ((Ascii (true, false,
-    true, false, true, true, true, false)), (String ((Ascii (true, false,
-    true, true, false, true, true, false)), (String ((Ascii (false, true,
-    false, false, false, true, true, false)), (String ((Ascii (true, false,
-    true, false, false, true, true, false)), (String ((Ascii (false, true,
-    false, false, true, true, true, false)),
-    EmptyString)))))))))))))))))))))))))))))))))))))))))))))))))), (S (S (S
-    (S (S (S (S O))))))))) :: [])))))))); l_cuts =
-    ((mkcut O (S O) EmptyString []) :: ((mkcut (S O) (S (S (S O))) (String
-                                          ((Ascii (false, false, true, false,
-                                          true, false, true, false)), (String
-                                          ((Ascii (true, false, false, true,
-                                          true, true, true, false)), (String
-                                          ((Ascii (false, false, false,
-                                          false, true, true, true, false)),
-                                          (String ((Ascii (true, false, true,
-                                          false, false, true, true, false)),
-                                          (String ((Ascii (true, true, false,
-                                          false, false, false, true, false)),
-                                          (String ((Ascii (true, true, true,
-                                          true, false, true, true, false)),
-                                          (String ((Ascii (false, false,
-                                          true, false, false, true, true,
-                                          false)), (String ((Ascii (true,
-                                          false, true, false, false, true,
-                                          true, false)),
-                                          EmptyString)))))))))))))))) []) :: (
-    (mkcut (S (S (S O))) (S (S (S (S (S (S O)))))) (String ((Ascii (false,
-      false, true, false, true, false, true, false)), (String ((Ascii (false,
-      true, false, false, true, true, true, false)), (String ((Ascii (true,
-      false, false, false, false, true, true, false)), (String ((Ascii
-      (false, true, true, true, false, true, true, false)), (String ((Ascii
-      (true, true, false, false, true, true, true, false)), (String ((Ascii
-      (true, false, false, false, false, true, true, false)), (String ((Ascii
-      (true, true, false, false, false, true, true, false)), (String ((Ascii
-      (false, false, true, false, true, true, true, false)), (String ((Ascii
-      (true, false, false, true, false, true, true, false)), (String ((Ascii
-      (true, true, true, true, false, true, true, false)), (String ((Ascii
-      (false, true, true, true, false, true, true, false)), (String ((Ascii
-      (false, false, true, false, true, false, true, false)), (String ((Ascii
-      (true, false, false, true, true, true, true, false)), (String ((Ascii
-      (false, false, false, false, true, true, true, false)), (String ((Ascii
-      (true, false, true, false, false, true, true, false)), (String ((Ascii
-      (true, true, false, false, false, false, true, false)), (String ((Ascii
-      (true, true, true, true, false, true, true, false)), (String ((Ascii
-      (false, false, true, false, false, true, true, false)), (String ((Ascii
-      (true, false, true, false, false, true, true, false)),
-      EmptyString)))))))))))))))))))))))))))))))))))))) []) :: ((mkcut (S (S
-                                                                  (S (S (S (S
-                                                                  O)))))) (S
-                                                                  (S (S (S (S
-                                                                  (S (S (S (S
-                                                                  (S (S (S (S
-                                                                  (S (S (S (S
-                                                                  (S (S (S (S
-                                                                  (S (S (S
-                                                                  O))))))))))))))))))))))))
-                                                                  (String
-                                                                  ((Ascii
-                                                                  (false,
-                                                                  true, true,
-                                                                  false,
-                                                                  false,
-                                                                  false,
-                                                                  true,
-                                                                  false)),
-                                                                  (String
-                                                                  ((Ascii
-                                                                  (true,
-                                                                  true, true,
-                                                                  true,
-                                                                  false,
-                                                                  true, true,
-                                                                  false)),
-                                                                  (String
-                                                                  ((Ascii
-                                                                  (false,
-                                                                  true,
-                                                                  false,
-                                                                  false,
-                                                                  true, true,
-                                                                  true,
-                                                                  false)),
-                                                                  (String
-                                                                  ((Ascii
-                                                                  (true,
-                                                                  false,
-                                                                  true,
-                                                                  false,
-                                                                  false,
-                                                                  true, true,
-                                                                  false)),
-                                                                  (String
-                                                                  ((Ascii
-                                                                  (true,
-                                                                  false,
-                                                                  false,
-                                                                  true,
-                                                                  false,
-                                                                  true, true,
-                                                                  false)),
-                                                                  (String
-                                                                  ((Ascii
-                                                                  (true,
-                                                                  true, true,
-                                                                  false,
-                                                                  false,
-                                                                  true, true,
-                                                                  false)),
-                                                                  (String
-                                                                  ((Ascii
-                                                                  (false,
-                                                                  true, true,
-                                                                  true,
-                                                                  false,
-                                                                  true, true,
-                                                                  false)),
-                                                                  (String
-                                                                  ((Ascii
-                                                                  (false,
-                                                                  false,
-                                                                  false,
-                                                                  false,
-                                                                  true,
-                                                                  false,
-                                                                  true,
-                                                                  false)),
-                                                                  (String
-                                                                  ((Ascii
-                                                                  (true,
-                                                                  false,
-                                                                  false,
-                                                                  false,
-                                                                  false,
-                                                                  true, true,
-                                                                  false)),
-                                                                  (String
-                                                                  ((Ascii
-                                                                  (true,
-                                                                  false,
-                                                                  false,
-                                                                  true, true,
-                                                                  true, true,
-                                                                  false)),
-                                                                  (String
-                                                                  ((Ascii
-                                                                  (true,
-                                                                  false,
-                                                                  true, true,
-                                                                  false,
-                                                                  true, true,
-                                                                  false)),
-                                                                  (String
-                                                                  ((Ascii
-                                                                  (true,
-                                                                  false,
-                                                                  true,
-                                                                  false,
-                                                                  false,
-                                                                  true, true,
-                                                                  false)),
-                                                                  (String
-                                                                  ((Ascii
-                                                                  (false,
-                                                                  true, true,
-                                                                  true,
-                                                                  false,
-                                                                  true, true,
-                                                                  false)),
-                                                                  (String
-                                                                  ((Ascii
-                                                                  (false,
-                                                                  false,
-                                                                  true,
-                                                                  false,
-                                                                  true, true,
-                                                                  true,
-                                                                  false)),
-                                                                  (String
-                                                                  ((Ascii
-                                                                  (true,
-                                                                  false,
-                                                                  false,
-                                                                  false,
-                                                                  false,
-                                                                  false,
-                                                                  true,
-                                                                  false)),
-                                                                  (String
-                                                                  ((Ascii
-                                                                  (true,
-                                                                  false,
-                                                                  true, true,
-                                                                  false,
-                                                                  true, true,
-                                                                  false)),
-                                                                  (String
-                                                                  ((Ascii
-                                                                  (true,
-                                                                  true, true,
-                                                                  true,
-                                                                  false,
-                                                                  true, true,
-                                                                  false)),
-                                                                  (String
-                                                                  ((Ascii
-                                                                  (true,
-                                                                  false,
-                                                                  true,
-                                                                  false,
-                                                                  true, true,
-                                                                  true,
-                                                                  false)),
-                                                                  (String
-                                                                  ((Ascii
-                                                                  (false,
-                                                                  true, true,
-                                                                  true,
-                                                                  false,
-                                                                  true, true,
-                                                                  false)),
-                                                                  (String
-                                                                  ((Ascii
-                                                                  (false,
-                                                                  false,
-                                                                  true,
-                                                                  false,
-                                                                  true, true,
-                                                                  true,
-                                                                  false)),
-                                                                  EmptyString))))))))))))))))))))))))))))))))))))))))
-                                                                  ((String
-                                                                  ((Ascii
-                                                                  (false,
-                                                                  false,
-                                                                  false,
-                                                                  false,
-                                                                  true, true,
-                                                                  true,
-                                                                  false)),
-                                                                  (String
-                                                                  ((Ascii
-                                                                  (true,
-                                                                  false,
-                                                                  false,
-                                                                  false,
-                                                                  false,
-                                                                  true, true,
-                                                                  false)),
-                                                                  (String
-                                                                  ((Ascii
-                                                                  (false,
-                                                                  true,
-                                                                  false,
-                                                                  false,
-                                                                  true, true,
-                                                                  true,
-                                                                  false)),
-                                                                  (String
-                                                                  ((Ascii
-                                                                  (true,
-                                                                  true,
-                                                                  false,
-                                                                  false,
-                                                                  true, true,
-                                                                  true,
-                                                                  false)),
-                                                                  (String
-                                                                  ((Ascii
-                                                                  (true,
-                                                                  false,
-                                                                  true,
-                                                                  false,
-                                                                  false,
-                                                                  true, true,
-                                                                  false)),
-                                                                  (String
-                                                                  ((Ascii
-                                                                  (false,
-                                                                  true, true,
-                                                                  true,
-                                                                  false,
-                                                                  false,
-                                                                  true,
-                                                                  false)),
-                                                                  (String
-                                                                  ((Ascii
-                                                                  (true,
-                                                                  false,
-                                                                  true,
-                                                                  false,
-                                                                  true, true,
-                                                                  true,
-                                                                  false)),
-                                                                  (String
-                                                                  ((Ascii
-                                                                  (true,
-                                                                  false,
-                                                                  true, true,
-                                                                  false,
-                                                                  true, true,
-                                                                  false)),
-                                                                  (String
-                                                                  ((Ascii
-                                                                  (false,
-                                                                  true, true,
-                                                                  false,
-                                                                  false,
-                                                                  false,
-                                                                  true,
-                                                                  false)),
-                                                                  (String
-                                                                  ((Ascii
-                                                                  (true,
-                                                                  false,
-                                                                  false,
-                                                                  true,
-                                                                  false,
-                                                                  true, true,
-                                                                  false)),
-                                                                  (String
-                                                                  ((Ascii
-                                                                  (true,
-                                                                  false,
-                                                                  true,
-                                                                  false,
-                                                                  false,
-                                                                  true, true,
-                                                                  false)),
-                                                                  (String
-                                                                  ((Ascii
-                                                                  (false,
-                                                                  false,
-                                                                  true, true,
-                                                                  false,
-                                                                  true, true,
-                                                                  false)),
-                                                                  (String
-                                                                  ((Ascii
-                                                                  (false,
-                                                                  false,
-                                                                  true,
-                                                                  false,
-                                                                  false,
-                                                                  true, true,
-                                                                  false)),
-                                                                  EmptyString)))))))))))))))))))))))))) :: [])) :: (
-    (mkcut (S (S (S (S (S (S (S (S (S (S (S (S (S (S (S (S (S (S (S (S (S (S
-      (S (S O)))))))))))))))))))))))) (S (S (S (S (S (S (S (S (S (S (S (S (S
-      (S (S (S (S (S (S (S (S (S (S (S (S (S (S (S (S (S (S (S (S (S (S (S (S
-      (S (S (S (S (S (S (S (S (S
-      O)))))))))))))))))))))))))))))))))))))))))))))) (String ((Ascii (false,
-      true, true, false, false, false, true, false)), (String ((Ascii (true,
-      true, true, true, false, true, true, false)), (String ((Ascii (false,
-      true, false, false, true, true, true, false)), (String ((Ascii (true,
-      false, true, false, false, true, true, false)), (String ((Ascii (true,
-      false, false, true, false, true, true, false)), (String ((Ascii (true,
-      true, true, false, false, true, true, false)), (String ((Ascii (false,
-      true, true, true, false, true, true, false)), (String ((Ascii (false,
-      false, true, false, true, false, true, false)), (String ((Ascii (false,
-      true, false, false, true, true, true, false)), (String ((Ascii (true,
-      false, false, false, false, true, true, false)), (String ((Ascii (true,
-      true, false, false, false, true, true, false)), (String ((Ascii (true,
-      false, true, false, false, true, true, false)), (String ((Ascii (false,
-      true, true, true, false, false, true, false)), (String ((Ascii (true,
-      false, true, false, true, true, true, false)), (String ((Ascii (true,
-      false, true, true, false, true, true, false)), (String ((Ascii (false,
-      true, false, false, false, true, true, false)), (String ((Ascii (true,
-      false, true, false, false, true, true, false)), (String ((Ascii (false,
-      true, false, false, true, true, true, false)),
-      EmptyString)))))))))))))))))))))))))))))))))))) ((String ((Ascii (true,
-      true, false, false, true, true, true, false)), (String ((Ascii (false,
-      false, true, false, true, true, true, false)), (String ((Ascii (false,
-      true, false, false, true, true, true, false)), (String ((Ascii (true,
-      false, false, true, false, true, true, false)), (String ((Ascii (false,
-      true, true, true, false, true, true, false)), (String ((Ascii (true,
-      true, true, false, false, true, true, false)), (String ((Ascii (true,
-      true, false, false, true, true, true, false)), (String ((Ascii (false,
-      true, true, true, false, true, false, false)), (String ((Ascii (false,
-      false, true, false, true, false, true, false)), (String ((Ascii (false,
-      true, false, false, true, true, true, false)), (String ((Ascii (true,
-      false, false, true, false, true, true, false)), (String ((Ascii (true,
-      false, true, true, false, true, true, false)), (String ((Ascii (true,
-      true, false, false, true, false, true, false)), (String ((Ascii (false,
-      false, false, false, true, true, true, false)), (String ((Ascii (true,
-      false, false, false, false, true, true, false)), (String ((Ascii (true,
-      true, false, false, false, true, true, false)), (String ((Ascii (true,
-      false, true, false, false, true, true, false)),
-      EmptyString)))))))))))))))))))))))))))))))))) :: [])) :: ((mkcut (S (S
-                                                                  (S (S (S (S
-                                                                  (S (S (S (S
-                                                                  (S (S (S (S
-                                                                  (S (S (S (S
-                                                                  (S (S (S (S
-                                                                  (S (S (S (S
-                                                                  (S (S (S (S
-                                                                  (S (S (S (S
-                                                                  (S (S (S (S
-                                                                  (S (S (S (S
-                                                                  (S (S (S (S
-                                                                  O))))))))))))))))))))))))))))))))))))))))))))))
-                                                                  (S (S (S (S
-                                                                  (S (S (S (S
-                                                                  (S (S (S (S
-                                                                  (S (S (S (S
-                                                                  (S (S (S (S
-                                                                  (S (S (S (S
-                                                                  (S (S (S (S
-                                                                  (S (S (S (S
-                                                                  (S (S (S (S
-                                                                  (S (S (S (S
-                                                                  (S (S (S (S
-                                                                  (S (S (S (S
-                                                                  (S (S (S (S
-                                                                  (S (S (S (S
-                                                                  (S (S (S (S
-                                                                  (S (S (S (S
-                                                                  (S (S (S (S
-                                                                  (S (S (S (S
-                                                                  (S (S (S (S
-                                                                  (S (S (S (S
-                                                                  (S
-                                                                  O)))))))))))))))))))))))))))))))))))))))))))))))))))))))))))))))))))))))))))))))))
-                                                                  (String
-                                                                  ((Ascii
-                                                                  (false,
-                                                                  true, true,
-                                                                  true,
-                                                                  false,
-                                                                  false,
-                                                                  true,
-                                                                  false)),
-                                                                  (String
-                                                                  ((Ascii
-                                                                  (true,
-                                                                  false,
-                                                                  false,
-                                                                  false,
-                                                                  false,
-                                                                  true, true,
-                                                                  false)),
-                                                                  (String
-                                                                  ((Ascii
-                                                                  (true,
-                                                                  false,
-                                                                  true, true,
-                                                                  false,
-                                                                  true, true,
-                                                                  false)),
-                                                                  (String
-                                                                  ((Ascii
-                                                                  (true,
-                                                                  false,
-                                                                  true,
-                                                                  false,
-                                                                  false,
-                                                                  true, true,
-                                                                  false)),
-                                                                  EmptyString))))))))
-                                                                  ((String
-                                                                  ((Ascii
-                                                                  (true,
-                                                                  true,
-                                                                  false,
-                                                                  false,
-                                                                  true, true,
-                                                                  true,
-                                                                  false)),
-                                                                  (String
-                                                                  ((Ascii
-                                                                  (false,
-                                                                  false,
-                                                                  true,
-                                                                  false,
-                                                                  true, true,
-                                                                  true,
-                                                                  false)),
-                                                                  (String
-                                                                  ((Ascii
-                                                                  (false,
-                                                                  true,
-                                                                  false,
-                                                                  false,
-                                                                  true, true,
-                                                                  true,
-                                                                  false)),
-                                                                  (String
-                                                                  ((Ascii
-                                                                  (true,
-                                                                  false,
-                                                                  false,
-                                                                  true,
-                                                                  false,
-                                                                  true, true,
-                                                                  false)),
-                                                                  (String
-                                                                  ((Ascii
-                                                                  (false,
-                                                                  true, true,
-                                                                  true,
-                                                                  false,
-                                                                  true, true,
-                                                                  false)),
-                                                                  (String
-                                                                  ((Ascii
-                                                                  (true,
-                                                                  true, true,
-                                                                  false,
-                                                                  false,
-                                                                  true, true,
-                                                                  false)),
-                                                                  (String
-                                                                  ((Ascii
-                                                                  (true,
-                                                                  true,
-                                                                  false,
-                                                                  false,
-                                                                  true, true,
-                                                                  true,
-                                                                  false)),
-                                                                  (String
-                                                                  ((Ascii
-                                                                  (false,
-                                                                  true, true,
-                                                                  true,
-                                                                  false,
-                                                                  true,
-                                                                  false,
-                                                                  false)),
-                                                                  (String
-                                                                  ((Ascii
-                                                                  (false,
-                                                                  false,
-                                                                  true,
-                                                                  false,
-                                                                  true,
-                                                                  false,
-                                                                  true,
-                                                                  false)),
-                                                                  (String
-                                                                  ((Ascii
-                                                                  (false,
-                                                                  true,
-                                                                  false,
-                                                                  false,
-                                                                  true, true,
-                                                                  true,
-                                                                  false)),
-                                                                  (String
-                                                                  ((Ascii
-                                                                  (true,
-                                                                  false,
-                                                                  false,
-                                                                  true,
-                                                                  false,
-                                                                  true, true,
-                                                                  false)),
-                                                                  (String
-                                                                  ((Ascii
-                                                                  (true,
-                                                                  false,
-                                                                  true, true,
-                                                                  false,
-                                                                  true, true,
-                                                                  false)),
-                                                                  (String
-                                                                  ((Ascii
-                                                                  (true,
-                                                                  true,
-                                                                  false,
-                                                                  false,
-                                                                  true,
-                                                                  false,
-                                                                  true,
-                                                                  false)),
-                                                                  (String
-                                                                  ((Ascii
-                                                                  (false,
-                                                                  false,
-                                                                  false,
-                                                                  false,
-                                                                  true, true,
-                                                                  true,
-                                                                  false)),
-                                                                  (String
-                                                                  ((Ascii
-                                                                  (true,
-                                                                  false,
-                                                                  false,
-                                                                  false,
-                                                                  false,
-                                                                  true, true,
-                                                                  false)),
-                                                                  (String
-                                                                  ((Ascii
-                                                                  (true,
-                                                                  true,
-                                                                  false,
-                                                                  false,
-                                                                  false,
-                                                                  true, true,
-                                                                  false)),
-                                                                  (String
-                                                                  ((Ascii
-                                                                  (true,
-                                                                  false,
-                                                                  true,
-                                                                  false,
-                                                                  false,
-                                                                  true, true,
-                                                                  false)),
-                                                                  EmptyString)))))))))))))))))))))))))))))))))) :: [])) :: (
-    (mkcut (S (S (S (S (S (S (S (S (S (S (S (S (S (S (S (S (S (S (S (S (S (S
-      (S (S (S (S (S (S (S (S (S (S (S (S (S (S (S (S (S (S (S (S (S (S (S (S
-      (S (S (S (S (S (S (S (S (S (S (S (S (S (S (S (S (S (S (S (S (S (S (S (S
-      (S (S (S (S (S (S (S (S (S (S (S
-      O)))))))))))))))))))))))))))))))))))))))))))))))))))))))))))))))))))))))))))))))))
-      (S (S (S (S (S (S (S (S (S (S (S (S (S (S (S (S (S (S (S (S (S (S (S (S
-      (S (S (S (S (S (S (S (S (S (S (S (S (S (S (S (S (S (S (S (S (S (S (S (S
-      (S (S (S (S (S (S (S (S (S (S (S (S (S (S (S (S (S (S (S (S (S (S (S (S
-      (S (S (S (S (S (S (S (S (S (S (S (S (S (S (S
-      O)))))))))))))))))))))))))))))))))))))))))))))))))))))))))))))))))))))))))))))))))))))))
-      EmptyString []) :: ((mkcut (S (S (S (S (S (S (S (S (S (S (S (S (S (S (S
-                            (S (S (S (S (S (S (S (S (S (S (S (S (S (S (S (S
-                            (S (S (S (S (S (S (S (S (S (S (S (S (S (S (S (S
-                            (S (S (S (S (S (S (S (S (S (S (S (S (S (S (S (S
-                            (S (S (S (S (S (S (S (S (S (S (S (S (S (S (S (S
-                            (S (S (S (S (S (S (S (S
-                            O)))))))))))))))))))))))))))))))))))))))))))))))))))))))))))))))))))))))))))))))))))))))
-                            (S (S (S (S (S (S (S (S (S (S (S (S (S (S (S (S
-                            (S (S (S (S (S (S (S (S (S (S (S (S (S (S (S (S
-                            (S (S (S (S (S (S (S (S (S (S (S (S (S (S (S (S
-                            (S (S (S (S (S (S (S (S (S (S (S (S (S (S (S (S
-                            (S (S (S (S (S (S (S (S (S (S (S (S (S (S (S (S
-                            (S (S (S (S (S (S (S (S (S (S (S (S (S (S
-                            O))))))))))))))))))))))))))))))))))))))))))))))))))))))))))))))))))))))))))))))))))))))))))))))
-                            (String ((Ascii (true, false, true, false, false,
-                            false, true, false)), (String ((Ascii (false,
-                            true, true, true, false, true, true, false)),
-                            (String ((Ascii (false, false, true, false, true,
-                            true, true, false)), (String ((Ascii (false,
-                            true, false, false, true, true, true, false)),
-                            (String ((Ascii (true, false, false, true, true,
-                            true, true, false)), (String ((Ascii (false,
-                            false, true, false, false, false, true, false)),
-                            (String ((Ascii (true, false, true, false, false,
-                            true, true, false)), (String ((Ascii (false,
-                            false, true, false, true, true, true, false)),
-                            (String ((Ascii (true, false, false, false,
-                            false, true, true, false)), (String ((Ascii
-                            (true, false, false, true, false, true, true,
-                            false)), (String ((Ascii (false, false, true,
-                            true, false, true, true, false)), (String ((Ascii
-                            (true, true, false, false, true, false, true,
-                            false)), (String ((Ascii (true, false, true,
-                            false, false, true, true, false)), (String
-                            ((Ascii (true, false, false, false, true, true,
-                            true, false)), (String ((Ascii (true, false,
-                            true, false, true, true, true, false)), (String
-                            ((Ascii (true, false, true, false, false, true,
-                            true, false)), (String ((Ascii (false, true,
-                            true, true, false, true, true, false)), (String
-                            ((Ascii (true, true, false, false, false, true,
-                            true, false)), (String ((Ascii (true, false,
-                            true, false, false, true, true, false)), (String
-                            ((Ascii (false, true, true, true, false, false,
-                            true, false)), (String ((Ascii (true, false,
-                            true, false, true, true, true, false)), (String
-                            ((Ascii (true, false, true, true, false, true,
-                            true, false)), (String ((Ascii (false, true,
-                            false, false, false, true, true, false)), (String
-                            ((Ascii (true, false, true, false, false, true,
-                            true, false)), (String ((Ascii (false, true,
-                            false, false, true, true, true, false)),
-                            EmptyString))))))))))))))))))))))))))))))))))))))))))))))))))
-                            ((String ((Ascii (false, false, false, false,
-                            true, true, true, false)), (String ((Ascii (true,
-                            false, false, false, false, true, true, false)),
-                            (String ((Ascii (false, true, false, false, true,
-                            true, true, false)), (String ((Ascii (true, true,
-                            false, false, true, true, true, false)), (String
-                            ((Ascii (true, false, true, false, false, true,
-                            true, false)), (String ((Ascii (false, true,
-                            true, true, false, false, true, false)), (String
-                            ((Ascii (true, false, true, false, true, true,
-                            true, false)), (String ((Ascii (true, false,
-                            true, true, false, true, true, false)), (String
-                            ((Ascii (false, true, true, false, false, false,
-                            true, false)), (String ((Ascii (true, false,
-                            false, true, false, true, true, false)), (String
-                            ((Ascii (true, false, true, false, false, true,
-                            true, false)), (String ((Ascii (false, false,
-                            true, true, false, true, true, false)), (String
-                            ((Ascii (false, false, true, false, false, true,
-                            true, false)),
-                            EmptyString)))))))))))))))))))))))))) :: [])) :: [])))))))) }
-
-(** val l_Addenda11 : layout **)
-
-let l_Addenda11 =
-  { l_name = (String ((Ascii (true, false, false, false, false, false, true,
-    false)), (String ((Ascii (false, false, true, false, false, true, true,
-    false)), (String ((Ascii (false, false, true, false, false, true, true,
-    false)), (String ((Ascii (true, false, true, false, false, true, true,
-    false)), (String ((Ascii (false, true, true, true, false, true, true,
-    false)), (String ((Ascii (false, false, true, false, false, true, true,
-    false)), (String ((Ascii (true, false, false, false, false, true, true,
-    false)), (String ((Ascii (true, false, false, false, true, true, false,
-    false)), (String ((Ascii (true, false, false, false, true, true, false,
-    false)), EmptyString)))))))))))))))))); l_ix = IRune; l_segs = ((SLit
-    ((Npos (XI (XI (XI (XO (XI XH)))))) :: [])) :: ((SRaw (String ((Ascii
-    (false, false, true, false, true, false, true, false)), (String ((Ascii
-    (true, false, false, true, true, true, true, false)), (String ((Ascii
-    (false, false, false, false, true, true, true, false)), (String ((Ascii
-    (true, false, true, false, false, true, true, false)), (String ((Ascii
-    (true, true, false, false, false, false, true, false)), (String ((Ascii
-    (true, true, true, true, false, true, true, false)), (String ((Ascii
-    (false, false, true, false, false, true, true, false)), (String ((Ascii
-    (true, false, true, false, false, true, true, false)),
-    EmptyString))))))))))))))))) :: ((SAlpha ((String ((Ascii (true, true,
-    true, true, false, false, true, false)), (String ((Ascii (false, true,
-    false, false, true, true, true, false)), (String ((Ascii (true, false,
-    false, true, false, true, true, false)), (String ((Ascii (true, true,
-    true, false, false, true, true, false)), (String ((Ascii (true, false,
-    false, true, false, true, true, false)), (String ((Ascii (false, true,
-    true, true, false, true, true, false)), (String ((Ascii (true, false,
-    false, false, false, true, true, false)), (String ((Ascii (false, false,
-    true, false, true, true, true, false)), (String ((Ascii (true, true,
-    true, true, false, true, true, false)), (String ((Ascii (false, true,
-    false, false, true, true, true, false)), (String ((Ascii (false, true,
-    true, true, false, false, true, false)), (String ((Ascii (true, false,
-    false, false, false, true, true, false)), (String ((Ascii (true, false,
-    true, true, false, true, true, false)), (String ((Ascii (true, false,
-    true, false, false, true, true, false)),
-    EmptyString)))))))))))))))))))))))))))), (S (S (S (S (S (S (S (S (S (S (S
-    (S (S (S (S (S (S (S (S (S (S (S (S (S (S (S (S (S (S (S (S (S (S (S (S
-    O))))))))))))))))))))))))))))))))))))) :: ((SAlpha ((String ((Ascii
-    (true, true, true, true, false, false, true, false)), (String ((Ascii
-    (false, true, false, false, true, true, true, false)), (String ((Ascii
-    (true, false, false, true, false, true, true, false)), (String ((Ascii
-    (true, true, true, false, false, true, true, false)), (String ((Ascii
-    (true, false, false, true, false, true, true, false)), (String ((Ascii
-    (false, true, true, true, false, true, true, false)), (String ((Ascii
-    (true, false, false, false, false, true, true, false)), (String ((Ascii
-    (false, false, true, false, true, true, true, false)), (String ((Ascii
-    (true, true, true, true, false, true, true, false)), (String ((Ascii
-    (false, true, false, false, true, true, true, false)), (String ((Ascii
-    (true, true, false, false, true, false, true, false)), (String ((Ascii
-    (false, false, true, false, true, true, true, false)), (String ((Ascii
-    (false, true, false, false, true, true, true, false)), (String ((Ascii
-    (true, false, true, false, false, true, true, false)), (String ((Ascii
-    (true, false, true, false, false, true, true, false)), (String ((Ascii
-    (false, false, true, false, true, true, true, false)), (String ((Ascii
-    (true, false, false, false, false, false, true, false)), (String ((Ascii
-    (false, false, true, false, false, true, true, false)), (String ((Ascii
-    (false, false, true, false, false, true, true, false)), (String ((Ascii
-    (false, true, false, false, true, true, true, false)), (String ((Ascii
-    (true, false, true, false, false, true, true, false)), (String ((Ascii
-    (true, true, false, false, true, true, true, false)), (String ((Ascii
-    (true, true, false, false, true, true, true, false)),
-    EmptyString)))))))))))))))))))))))))))))))))))))))))))))), (S (S (S (S (S
-    (S (S (S (S (S (S (S (S (S (S (S (S (S (S (S (S (S (S (S (S (S (S (S (S
-    (S (S (S (S (S (S O))))))))))))))))))))))))))))))))))))) :: ((SLit ((Npos
-    (XO (XO (XO (XO (XO XH)))))) :: ((Npos (XO (XO (XO (XO (XO
-    XH)))))) :: ((Npos (XO (XO (XO (XO (XO XH)))))) :: ((Npos (XO (XO (XO (XO
-    (XO XH)))))) :: ((Npos (XO (XO (XO (XO (XO XH)))))) :: ((Npos (XO (XO (XO
-    (XO (XO XH)))))) :: ((Npos (XO (XO (XO (XO (XO XH)))))) :: ((Npos (XO (XO
-    (XO (XO (XO XH)))))) :: ((Npos (XO (XO (XO (XO (XO XH)))))) :: ((Npos (XO
-    (XO (XO (XO (XO XH)))))) :: ((Npos (XO (XO (XO (XO (XO XH)))))) :: ((Npos
-    (XO (XO (XO (XO (XO XH)))))) :: ((Npos (XO (XO (XO (XO (XO
-    XH)))))) :: ((Npos (XO (XO (XO (XO (XO
-    XH)))))) :: []))))))))))))))) :: ((SNum ((String ((Ascii (true, false,
-    true, false, false, false, true, false)), (String ((Ascii (false, true,
-    true, true, false, true, true, false)), (String ((Ascii (false, false,
-    true, false, true, true, true, false)), (String ((Ascii (false, true,
-    false, false, true, true, true, false)), (String ((Ascii (true, false,
-    false, true, true, true, true, false)), (String ((Ascii (false, false,
-    true, false, false, false, true, false)), (String ((Ascii (true, false,
-    true, false, false, true, true, false)), (String ((Ascii (false, false,
-    true, false, true, true, true, false)), (String ((Ascii (true, false,
-    false, false, false, true, true, false)), (String ((Ascii (true, false,
-    false, true, false, true, true, false)), (String ((Ascii (false, false,
-    true, true, false, true, true, false)), (String ((Ascii (true, true,
-    false, false, true, false, true, false)), (String ((Ascii (true, false,
-    true, false, false, true, true, false)), (String ((Ascii (true, false,
-    false, false, true, true, true, false)), (String ((Ascii (true, false,
-    true, false, true, true, true, false)), (String ((Ascii (true, false,
-    true, false, false, true, true, false)), (String ((Ascii (false, true,
-    true, true, false, true, true, false)), (String ((Ascii (true, true,
-    false, false, false, true, true, false)), (String ((Ascii (true, false,
-    true, false, false, true, true, false)), (String ((Ascii (false, true,
-    true, true, false, false, true, false)), (String ((Ascii (true, false,
-    true, false, true, true, true, false)), (String ((Ascii (true, false,
-    true, true, false, true, true, false)), (String ((Ascii (false, true,
-    false, false, false, true, true, false)), (String ((Ascii (true, false,
-    true, false, false, true, true, false)), (String ((Ascii (false, true,
-    false, false, true, true, true, false)),
-    EmptyString)))))))))))))))))))))))))))))))))))))))))))))))))), (S (S (S
-    (S (S (S (S O))))))))) :: [])))))); l_cuts =
-    ((mkcut O (S O) EmptyString []) :: ((mkcut (S O) (S (S (S O))) (String
-                                          ((Ascii (false, false, true, false,
-                                          true, false, true, false)), (String
-                                          ((Ascii (true, false, false, true,
-                                          true, true, true, false)), (String
-                                          ((Ascii (false, false, false,
-                                          false, true, true, true, false)),
-                                          (String ((Ascii (true, false, true,
-                                          false, false, true, true, false)),
-                                          (String ((Ascii (true, true, false,
-                                          false, false, false, true, false)),
-                                          (String ((Ascii (true, true, true,
-                                          true, false, true, true, false)),
-                                          (String ((Ascii (false, false,
-                                          true, false, false, true, true,
-                                          false)), (String ((Ascii (true,
-                                          false, true, false, false, true,
-                                          true, false)),
-                                          EmptyString)))))))))))))))) []) :: (
-    (mkcut (S (S (S O))) (S (S (S (S (S (S (S (S (S (S (S (S (S (S (S (S (S
-      (S (S (S (S (S (S (S (S (S (S (S (S (S (S (S (S (S (S (S (S (S
-      O)))))))))))))))))))))))))))))))))))))) (String ((Ascii (true, true,
-      true, true, false, false, true, false)), (String ((Ascii (false, true,
-      false, false, true, true, true, false)), (String ((Ascii (true, false,
-      false, true, false, true, true, false)), (String ((Ascii (true, true,
-      true, false, false, true, true, false)), (String ((Ascii (true, false,
-      false, true, false, true, true, false)), (String ((Ascii (false, true,
-      true, true, false, true, true, false)), (String ((Ascii (true, false,
-      false, false, false, true, true, false)), (String ((Ascii (false,
-      false, true, false, true, true, true, false)), (String ((Ascii (true,
-      true, true, true, false, true, true, false)), (String ((Ascii (false,
-      true, false, false, true, true, true, false)), (String ((Ascii (false,
-      true, true, true, false, false, true, false)), (String ((Ascii (true,
-      false, false, false, false, true, true, false)), (String ((Ascii (true,
-      false, true, true, false, true, true, false)), (String ((Ascii (true,
-      false, true, false, false, true, true, false)),
-      EmptyString)))))))))))))))))))))))))))) ((String ((Ascii (true, true,
-      false, false, true, true, true, false)), (String ((Ascii (false, false,
-      true, false, true, true, true, false)), (String ((Ascii (false, true,
-      false, false, true, true, true, false)), (String ((Ascii (true, false,
-      false, true, false, true, true, false)), (String ((Ascii (false, true,
-      true, true, false, true, true, false)), (String ((Ascii (true, true,
-      true, false, false, true, true, false)), (String ((Ascii (true, true,
-      false, false, true, true, true, false)), (String ((Ascii (false, true,
-      true, true, false, true, false, false)), (String ((Ascii (false, false,
-      true, false, true, false, true, false)), (String ((Ascii (false, true,
-      false, false, true, true, true, false)), (String ((Ascii (true, false,
-      false, true, false, true, true, false)), (String ((Ascii (true, false,
-      true, true, false, true, true, false)), (String ((Ascii (true, true,
-      false, false, true, false, true, false)), (String ((Ascii (false,
-      false, false, false, true, true, true, false)), (String ((Ascii (true,
-      false, false, false, false, true, true, false)), (String ((Ascii (true,
-      true, false, false, false, true, true, false)), (String ((Ascii (true,
-      false, true, false, false, true, true, false)),
-      EmptyString)))))))))))))))))))))))))))))))))) :: [])) :: ((mkcut (S (S
-                                                                  (S (S (S (S
-                                                                  (S (S (S (S
-                                                                  (S (S (S (S
-                                                                  (S (S (S (S
-                                                                  (S (S (S (S
-                                                                  (S (S (S (S
-                                                                  (S (S (S (S
-                                                                  (S (S (S (S
-                                                                  (S (S (S (S
-                                                                  O))))))))))))))))))))))))))))))))))))))
-                                                                  (S (S (S (S
-                                                                  (S (S (S (S
-                                                                  (S (S (S (S
-                                                                  (S (S (S (S
-                                                                  (S (S (S (S
-                                                                  (S (S (S (S
-                                                                  (S (S (S (S
-                                                                  (S (S (S (S
-                                                                  (S (S (S (S
-                                                                  (S (S (S (S
-                                                                  (S (S (S (S
-                                                                  (S (S (S (S
-                                                                  (S (S (S (S
-                                                                  (S (S (S (S
-                                                                  (S (S (S (S
-                                                                  (S (S (S (S
-                                                                  (S (S (S (S
-                                                                  (S (S (S (S
-                                                                  (S
-                                                                  O)))))))))))))))))))))))))))))))))))))))))))))))))))))))))))))))))))))))))
-                                                                  (String
-                                                                  ((Ascii
-                                                                  (true,
-                                                                  true, true,
-                                                                  true,
-                                                                  false,
-                                                                  false,
-                                                                  true,
-                                                                  false)),
-                                                                  (String
-                                                                  ((Ascii
-                                                                  (false,
-                                                                  true,
-                                                                  false,
-                                                                  false,
-                                                                  true, true,
-                                                                  true,
-                                                                  false)),
-                                                                  (String
-                                                                  ((Ascii
-                                                                  (true,
-                                                                  false,
-                                                                  false,
-                                                                  true,
-                                                                  false,
-                                                                  true, true,
-                                                                  false)),
-                                                                  (String
-                                                                  ((Ascii
-                                                                  (true,
-                                                                  true, true,
-                                                                  false,
-                                                                  false,
-                                                                  true, true,
-                                                                  false)),
-                                                                  (String
-                                                                  ((Ascii
-                                                                  (true,
-                                                                  false,
-                                                                  false,
-                                                                  true,
-                                                                  false,
-                                                                  true, true,
-                                                                  false)),
-                                                                  (String
-                                                                  ((Ascii
-                                                                  (false,
-                                                                  true, true,
-                                                                  true,
-                                                                  false,
-                                                                  true, true,
-                                                                  false)),
-                                                                  (String
-                                                                  ((Ascii
-                                                                  (true,
-                                                                  false,
-                                                                  false,
-                                                                  false,
-                                                                  false,
-                                                                  true, true,
-                                                                  false)),
-                                                                  (String
-                                                                  ((Ascii
-                                                                  (false,
-                                                                  false,
-                                                                  true,
-                                                                  false,
-                                                                  true, true,
-                                                                  true,
-                                                                  false)),
-                                                                  (String
-                                                                  ((Ascii
-                                                                  (true,
-                                                                  true, true,
-                                                                  true,
-                                                                  false,
-                                                                  true, true,
-                                                                  false)),
-                                                                  (String
-                                                                  ((Ascii
-                                                                  (false,
-                                                                  true,
-                                                                  false,
-                                                                  false,
-                                                                  true, true,
-                                                                  true,
-                                                                  false)),
-                                                                  (String
-                                                                  ((Ascii
-                                                                  (true,
-                                                                  true,
-                                                                  false,
-                                                                  false,
-                                                                  true,
-                                                                  false,
-                                                                  true,
-                                                                  false)),
-                                                                  (String
-                                                                  ((Ascii
-                                                                  (false,
-                                                                  false,
-                                                                  true,
-                                                                  false,
-                                                                  true, true,
-                                                                  true,
-                                                                  false)),
-                                                                  (String
-                                                                  ((Ascii
-                                                                  (false,
-                                                                  true,
-                                                                  false,
-                                                                  false,
-                                                                  true, true,
-                                                                  true,
-                                                                  false)),
-                                                                  (String
-                                                                  ((Ascii
-                                                                  (true,
-                                                                  false,
-                                                                  true,
-                                                                  false,
-                                                                  false,
-                                                                  true, true,
-                                                                  false)),
-                                                                  (String
-                                                                  ((Ascii
-                                                                  (true,
-                                                                  false,
-                                                                  true,
-                                                                  false,
-                                                                  false,
-                                                                  true, true,
-                                                                  false)),
-                                                                  (String
-                                                                  ((Ascii
-                                                                  (false,
-                                                                  false,
-                                                                  true,
-                                                                  false,
-                                                                  true, true,
-                                                                  true,
-                                                                  false)),
-                                                                  (String
-                                                                  ((Ascii
-                                                                  (true,
-                                                                  false,
-                                                                  false,
-                                                                  false,
-                                                                  false,
-                                                                  false,
-                                                                  true,
-                                                                  false)),
-                                                                  (String
-                                                                  ((Ascii
-                                                                  (false,
-                                                                  false,
-                                                                  true,
-                                                                  false,
-                                                                  false,
-                                                                  true, true,
-                                                                  false)),
-                                                                  (String
-                                                                  ((Ascii
-                                                                  (false,
-                                                                  false,
-                                                                  true,
-                                                                  false,
-                                                                  false,
-                                                                  true, true,
-                                                                  false)),
-                                                                  (String
-                                                                  ((Ascii
-                                                                  (false,
-                                                                  true,
-                                                                  false,
-                                                                  false,
-                                                                  true, true,
-                                                                  true,
-                                                                  false)),
-                                                                  (String
-                                                                  ((Ascii
-                                                                  (true,
-                                                                  false,
-                                                                  true,
-                                                                  false,
-                                                                  false,
-                                                                  true, true,
-                                                                  false)),
-                                                                  (String
-                                                                  ((Ascii
-                                                                  (true,
-                                                                  true,
-                                                                  false,
-                                                                  false,
-                                                                  true, true,
-                                                                  true,
-                                                                  false)),
-                                                                  (String
-                                                                  ((Ascii
-                                                                  (true,
-                                                                  true,
-                                                                  false,
-                                                                  false,
-                                                                  true, true,
-                                                                  true,
-                                                                  false)),
-                                                                  EmptyString))))))))))))))))))))))))))))))))))))))))))))))
-                                                                  ((String
-                                                                  ((Ascii
-                                                                  (true,
-                                                                  true,
-                                                                  false,
-                                                                  false,
-                                                                  true, true,
-                                                                  true,
-                                                                  false)),
-                                                                  (String
-                                                                  ((Ascii
-                                                                  (false,
-                                                                  false,
-                                                                  true,
-                                                                  false,
-                                                                  true, true,
-                                                                  true,
-                                                                  false)),
-                                                                  (String
-                                                                  ((Ascii
-                                                                  (false,
-                                                                  true,
-                                                                  false,
-                                                                  false,
-                                                                  true, true,
-                                                                  true,
-                                                                  false)),
-                                                                  (String
-                                                                  ((Ascii
-                                                                  (true,
-                                                                  false,
-                                                                  false,
-                                                                  true,
-                                                                  false,
-                                                                  true, true,
-                                                                  false)),
-                                                                  (String
-                                                                  ((Ascii
-                                                                  (false,
-                                                                  true, true,
-                                                                  true,
-                                                                  false,
-                                                                  true, true,
-                                                                  false)),
-                                                                  (String
-                                                                  ((Ascii
-                                                                  (true,
-                                                                  true, true,
-                                                                  false,
-                                                                  false,
-                                                                  true, true,
-                                                                  false)),
-                                                                  (String
-                                                                  ((Ascii
-                                                                  (true,
-                                                                  true,
-                                                                  false,
-                                                                  false,
-                                                                  true, true,
-                                                                  true,
-                                                                  false)),
-                                                                  (String
-                                                                  ((Ascii
-                                                                  (false,
-                                                                  true, true,
-                                                                  true,
-                                                                  false,
-                                                                  true,
-                                                                  false,
-                                                                  false)),
-                                                                  (String
-                                                                  ((Ascii
-                                                                  (false,
-                                                                  false,
-                                                                  true,
-                                                                  false,
-                                                                  true,
-                                                                  false,
-                                                                  true,
-                                                                  false)),
-                                                                  (String
-                                                                  ((Ascii
-                                                                  (false,
-                                                                  true,
-                                                                  false,
-                                                                  false,
-                                                                  true, true,
-                                                                  true,
-                                                                  false)),
-                                                                  (String
-                                                                  ((Ascii
-                                                                  (true,
-                                                                  false,
-                                                                  false,
-                                                                  true,
-                                                                  false,
-                                                                  true, true,
-                                                                  false)),
-                                                                  (String
-                                                                  ((Ascii
-                                                                  (true,
-                                                                  false,
-                                                                  true, true,
-                                                                  false,
-                                                                  true, true,
-                                                                  false)),
-                                                                  (String
-                                                                  ((Ascii
-                                                                  (true,
-                                                                  true,
-                                                                  false,
-                                                                  false,
-                                                                  true,
-                                                                  false,
-                                                                  true,
-                                                                  false)),
-                                                                  (String
-                                                                  ((Ascii
-                                                                  (false,
-                                                                  false,
-                                                                  false,
-                                                                  false,
-                                                                  true, true,
-                                                                  true,
-                                                                  false)),
-                                                                  (String
-                                                                  ((Ascii
-                                                                  (true,
-                                                                  false,
-                                                                  false,
-                                                                  false,
-                                                                  false,
-                                                                  true, true,
-                                                                  false)),
-                                                                  (String
-                                                                  ((Ascii
-                                                                  (true,
-                                                                  true,
-                                                                  false,
-                                                                  false,
-                                                                  false,
-                                                                  true, true,
-                                                                  false)),
-                                                                  (String
-                                                                  ((Ascii
-                                                                  (true,
-                                                                  false,
-                                                                  true,
-                                                                  false,
-                                                                  false,
-                                                                  true, true,
-                                                                  false)),
-                                                                  EmptyString)))))))))))))))))))))))))))))))))) :: [])) :: (
-    (mkcut (S (S (S (S (S (S (S (S (S (S (S (S (S (S (S (S (S (S (S (S (S (S
-      (S (S (S (S (S (S (S (S (S (S (S (S (S (S (S (S (S (S (S (S (S (S (S (S
-      (S (S (S (S (S (S (S (S (S (S (S (S (S (S (S (S (S (S (S (S (S (S (S (S
-      (S (S (S
-      O)))))))))))))))))))))))))))))))))))))))))))))))))))))))))))))))))))))))))
-      (S (S (S (S (S (S (S (S (S (S (S (S (S (S (S (S (S (S (S (S (S (S (S (S
-      (S (S (S (S (S (S (S (S (S (S (S (S (S (S (S (S (S (S (S (S (S (S (S (S
-      (S (S (S (S (S (S (S (S (S (S (S (S (S (S (S (S (S (S (S (S (S (S (S (S
-      (S (S (S (S (S (S (S (S (S (S (S (S (S (S (S
-      O)))))))))))))))))))))))))))))))))))))))))))))))))))))))))))))))))))))))))))))))))))))))
-      EmptyString []) :: ((mkcut (S (S (S (S (S (S (S (S (S (S (S (S (S (S (S
-                            (S (S (S (S (S (S (S (S (S (S (S (S (S (S (S (S
-                            (S (S (S (S (S (S (S (S (S (S (S (S (S (S (S (S
-                            (S (S (S (S (S (S (S (S (S (S (S (S (S (S (S (S
-                            (S (S (S (S (S (S (S (S (S (S (S (S (S (S (S (S
-                            (S (S (S (S (S (S (S (S
-                            O)))))))))))))))))))))))))))))))))))))))))))))))))))))))))))))))))))))))))))))))))))))))
-                            (S (S (S (S (S (S (S (S (S (S (S (S (S (S (S (S
-                            (S (S (S (S (S (S (S (S (S (S (S (S (S (S (S (S
-                            (S (S (S (S (S (S (S (S (S (S (S (S (S (S (S (S
-                            (S (S (S (S (S (S (S (S (S (S (S (S (S (S (S (S
-                            (S (S (S (S (S (S (S (S (S (S (S (S (S (S (S (S
-                            (S (S (S (S (S (S (S (S (S (S (S (S (S (S
-                            O))))))))))))))))))))))))))))))))))))))))))))))))))))))))))))))))))))))))))))))))))))))))))))))
-                            (String ((Ascii (true, false, true, false, false,
-                            false, true, false)), (String ((Ascii (false,
-                            true, true, true, false, true, true, false)),
-                            (String ((Ascii (false, false, true, false, true,
-                            true, true, false)), (String ((Ascii (false,
-                            true, false, false, true, true, true, false)),
-                            (String ((Ascii (true, false, false, true, true,
-                            true, true, false)), (String ((Ascii (false,
-                            false, true, false, false, false, true, false)),
-                            (String ((Ascii (true, false, true, false, false,
-                            true, true, false)), (String ((Ascii (false,
-                            false, true, false, true, true, true, false)),
-                            (String ((Ascii (true, false, false, false,
-                            false, true, true, false)), (String ((Ascii
-                            (true, false, false, true, false, true, true,
-                            false)), (String ((Ascii (false, false, true,
-                            true, false, true, true, false)), (String ((Ascii
-                            (true, true, false, false, true, false, true,
-                            false)), (String ((Ascii (true, false, true,
-                            false, false, true, true, false)), (String
-                            ((Ascii (true, false, false, false, true, true,
-                            true, false)), (String ((Ascii (true, false,
-                            true, false, true, true, true, false)), (String
-                            ((Ascii (true, false, true, false, false, true,
-                            true, false)), (String ((Ascii (false, true,
-                            true, true, false, true, true, false)), (String
-                            ((Ascii (true, true, false, false, false, true,
-                            true, false)), (String ((Ascii (true, false,
-                            true, false, false, true, true, false)), (String
-                            ((Ascii (false, true, true, true, false, false,
-                            true, false)), (String ((Ascii (true, false,
-                            true, false, true, true, true, false)), (String
-                            ((Ascii (true, false, true, true, false, true,
-                            true, false)), (String ((Ascii (false, true,
-                            false, false, false, true, true, false)), (String
-                            ((Ascii (true, false, true, false, false, true,
-                            true, false)), (String ((Ascii (false, true,
-                            false, false, true, true, true, false)),
-                            EmptyString))))))))))))))))))))))))))))))))))))))))))))))))))
-                            ((String ((Ascii (false, false, false, false,
-                            true, true, true, false)), (String ((Ascii (true,
-                            false, false, false, false, true, true, false)),
-                            (String ((Ascii (false, true, false, false, true,
-                            true, true, false)), (String ((Ascii (true, true,
-                            false, false, true, true, true, false)), (String
-                            ((Ascii (true, false, true, false, false, true,
-                            true, false)), (String ((Ascii (false, true,
-                            true, true, false, false, true, false)), (String
-                            ((Ascii (true, false, true, false, true, true,
-                            true, false)), (String ((Ascii (true, false,
-                            true, true, false, true, true, false)), (String
-                            ((Ascii (false, true, true, false, false, false,
-                            true, false)), (String ((Ascii (true, false,
-                            false, true, false, true, true, false)), (String
-                            ((Ascii (true, false, true, false, false, true,
-                            true, false)), (String ((Ascii (false, false,
-                            true, true, false, true, true, false)), (String
-                            ((Ascii (false, false, true, false, false, true,
-                            true, false)),
-                            EmptyString)))))))))))))))))))))))))) :: [])) :: [])))))) }
-
-(** val l_Addenda12 : layout **)
-
-let l_Addenda12 =
-  { l_name = (String ((Ascii (true, false, false, false, false, false, true,
-    false)), (String ((Ascii (false, false, true, false, false, true, true,
-    false)), (String ((Ascii (false, false, true, false, false, true, true,
-    false)), (String ((Ascii (true, false, true, false, false, true, true,
-    false)), (String ((Ascii (false, true, true, true, false, true, true,
-    false)), (String ((Ascii (false, false, true, false, false, true, true,
-    false)), (String ((Ascii (true, false, false, false, false, true, true,
-    false)), (String ((Ascii (true, false, false, false, true, true, false,
-    false)), (String ((Ascii (false, true, false, false, true, true, false,
-    false)), EmptyString)))))))))))))))))); l_ix = IRune; l_segs = ((SLit
-    ((Npos (XI (XI (XI (XO (XI XH)))))) :: [])) :: ((SRaw (String ((Ascii
-    (false, false, true, false, true, false, true, false)), (String ((Ascii
-    (true, false, false, true, true, true, true, false)), (String ((Ascii
-    (false, false, false, false, true, true, true, false)), (String ((Ascii
-    (true, false, true, false, false, true, true, false)), (String ((Ascii
-    (true, true, false, false, false, false, true, false)), (String ((Ascii
-    (true, true, true, true, false, true, true, false)), (String ((Ascii
-    (false, false, true, false, false, true, true, false)), (String ((Ascii
-    (true, false, true, false, false, true, true, false)),
-    EmptyString))))))))))))))))) :: ((SAlpha ((String ((Ascii (true, true,
-    true, true, false, false, true, false)), (String ((Ascii (false, true,
-    false, false, true, true, true, false)), (String ((Ascii (true, false,
-    false, true, false, true, true, false)), (String ((Ascii (true, true,
-    true, false, false, true, true, false)), (String ((Ascii (true, false,
-    false, true, false, true, true, false)), (String ((Ascii (false, true,
-    true, true, false, true, true, false)), (String ((Ascii (true, false,
-    false, false, false, true, true, false)), (String ((Ascii (false, false,
-    true, false, true, true, true, false)), (String ((Ascii (true, true,
-    true, true, false, true, true, false)), (String ((Ascii (false, true,
-    false, false, true, true, true, false)), (String ((Ascii (true, true,
-    false, false, false, false, true, false)), (String ((Ascii (true, false,
-    false, true, false, true, true, false)), (String ((Ascii (false, false,
-    true, false, true, true, true, false)), (String ((Ascii (true, false,
-    false, true, true, true, true, false)), (String ((Ascii (true, true,
-    false, false, true, false, true, false)), (String ((Ascii (false, false,
-    true, false, true, true, true, false)), (String ((Ascii (true, false,
-    false, false, false, true, true, false)), (String ((Ascii (false, false,
-    true, false, true, true, true, false)), (String ((Ascii (true, false,
-    true, false, false, true, true, false)), (String ((Ascii (false, false,
-    false, false, true, false, true, false)), (String ((Ascii (false, true,
-    false, false, true, true, true, false)), (String ((Ascii (true, true,
-    true, true, false, true, true, false)), (String ((Ascii (false, true,
-    true, false, true, true, true, false)), (String ((Ascii (true, false,
-    false, true, false, true, true, false)), (String ((Ascii (false, true,
-    true, true, false, true, true, false)), (String ((Ascii (true, true,
-    false, false, false, true, true, false)), (String ((Ascii (true, false,
-    true, false, false, true, true, false)),
-    EmptyString)))))))))))))))))))))))))))))))))))))))))))))))))))))), (S (S
-    (S (S (S (S (S (S (S (S (S (S (S (S (S (S (S (S (S (S (S (S (S (S (S (S
-    (S (S (S (S (S (S (S (S (S
-    O))))))))))))))))))))))))))))))))))))) :: ((SAlpha ((String ((Ascii
-    (true, true, true, true, false, false, true, false)), (String ((Ascii
-    (false, true, false, false, true, true, true, false)), (String ((Ascii
-    (true, false, false, true, false, true, true, false)), (String ((Ascii
-    (true, true, true, false, false, true, true, false)), (String ((Ascii
-    (true, false, false, true, false, true, true, false)), (String ((Ascii
-    (false, true, true, true, false, true, true, false)), (String ((Ascii
-    (true, false, false, false, false, true, true, false)), (String ((Ascii
-    (false, false, true, false, true, true, true, false)), (String ((Ascii
-    (true, true, true, true, false, true, true, false)), (String ((Ascii
-    (false, true, false, false, true, true, true, false)), (String ((Ascii
-    (true, true, false, false, false, false, true, false)), (String ((Ascii
-    (true, true, true, true, false, true, true, false)), (String ((Ascii
-    (true, false, true, false, true, true, true, false)), (String ((Ascii
-    (false, true, true, true, false, true, true, false)), (String ((Ascii
-    (false, false, true, false, true, true, true, false)), (String ((Ascii
-    (false, true, false, false, true, true, true, false)), (String ((Ascii
-    (true, false, false, true, true, true, true, false)), (String ((Ascii
-    (false, false, false, false, true, false, true, false)), (String ((Ascii
-    (true, true, true, true, false, true, true, false)), (String ((Ascii
-    (true, true, false, false, true, true, true, false)), (String ((Ascii
-    (false, false, true, false, true, true, true, false)), (String ((Ascii
-    (true, false, false, false, false, true, true, false)), (String ((Ascii
-    (false, false, true, true, false, true, true, false)), (String ((Ascii
-    (true, true, false, false, false, false, true, false)), (String ((Ascii
-    (true, true, true, true, false, true, true, false)), (String ((Ascii
-    (false, false, true, false, false, true, true, false)), (String ((Ascii
-    (true, false, true, false, false, true, true, false)),
-    EmptyString)))))))))))))))))))))))))))))))))))))))))))))))))))))), (S (S
-    (S (S (S (S (S (S (S (S (S (S (S (S (S (S (S (S (S (S (S (S (S (S (S (S
-    (S (S (S (S (S (S (S (S (S
-    O))))))))))))))))))))))))))))))))))))) :: ((SLit ((Npos (XO (XO (XO (XO
-    (XO XH)))))) :: ((Npos (XO (XO (XO (XO (XO XH)))))) :: ((Npos (XO (XO (XO
-    (XO (XO XH)))))) :: ((Npos (XO (XO (XO (XO (XO XH)))))) :: ((Npos (XO (XO
-    (XO (XO (XO XH)))))) :: ((Npos (XO (XO (XO (XO (XO XH)))))) :: ((Npos (XO
-    (XO (XO (XO (XO XH)))))) :: ((Npos (XO (XO (XO (XO (XO XH)))))) :: ((Npos
-    (XO (XO (XO (XO (XO XH)))))) :: ((Npos (XO (XO (XO (XO (XO
-    XH)))))) :: ((Npos (XO (XO (XO (XO (XO XH)))))) :: ((Npos (XO (XO (XO (XO
-    (XO XH)))))) :: ((Npos (XO (XO (XO (XO (XO XH)))))) :: ((Npos (XO (XO (XO
-    (XO (XO XH)))))) :: []))))))))))))))) :: ((SNum ((String ((Ascii (true,
-    false, true, false, false, false, true, false)), (String ((Ascii (false,
-    true, true, true, false, true, true, false)), (String ((Ascii (false,
-    false, true, false, true, true, true, false)), (String ((Ascii (false,
-    true, false, false, true, true, true, false)), (String ((Ascii (true,
-    false, false, true, true, true, true, false)), (String ((Ascii (false,
-    false, true, false, false, false, true, false)), (String ((Ascii (true,
-    false, true, false, false, true, true, false)), (String ((Ascii (false,
-    false, true, false, true, true, true, false)), (String ((Ascii (true,
-    false, false, false, false, true, true, false)), (String ((Ascii (true,
-    false, false, true, false, true, true, false)), (String ((Ascii (false,
-    false, true, true, false, true, true, false)), (String ((Ascii (true,
-    true, false, false, true, false, true, false)), (String ((Ascii (true,
-    false, true, false, false, true, true, false)), (String ((Ascii (true,
-    false, false, false, true, true, true, false)), (String ((Ascii (true,
-    false, true, false, true, true, true, false)), (String ((Ascii (true,
-    false, true, false, false, true, true, false)), (String ((Ascii (false,
-    true, true, true, false, true, true, false)), (String ((Ascii (true,
-    true, false, false, false, true, true, false)), (String ((Ascii (true,
-    false, true, false, false, true, true, false)), (String ((Ascii (false,
-    true, true, true, false, false, true, false)), (String ((Ascii (true,
-    false, true, false, true, true, true, false)), (String ((Ascii (true,
-    false, true, true, false, true, true, false)), (String ((Ascii (false,
-    true, false, false, false, true, true, false)), (String ((Ascii (true,
-    false, true, false, false, true, true, false)), (String ((Ascii (false,
-    true, false, false, true, true, true, false)),
-    EmptyString)))))))))))))))))))))))))))))))))))))))))))))))))), (S (S (S
-    (S (S (S (S O))))))))) :: [])))))); l_cuts =
-    ((mkcut O (S O) EmptyString []) :: ((mkcut (S O) (S (S (S O))) (String
-                                          ((Ascii (false, false, true, false,
-                                          true, false, true, false)), (String
-                                          ((Ascii (true, false, false, true,
-                                          true, true, true, false)), (String
-                                          ((Ascii (false, false, false,
-                                          false, true, true, true, false)),
-                                          (String ((Ascii (true, false, true,
-                                          false, false, true, true, false)),
-                                          (String ((Ascii (true, true, false,
-                                          false, false, false, true, false)),
-                                          (String ((Ascii (true, true, true,
-                                          true, false, true, true, false)),
-                                          (String ((Ascii (false, false,
-                                          true, false, false, true, true,
-                                          false)), (String ((Ascii (true,
-                                          false, true, false, false, true,
-                                          true, false)),
-                                          EmptyString)))))))))))))))) []) :: (
-    (mkcut (S (S (S O))) (S (S (S (S (S (S (S (S (S (S (S (S (S (S (S (S (S
-      (S (S (S (S (S (S (S (S (S (S (S (S (S (S (S (S (S (S (S (S (S
-      O)))))))))))))))))))))))))))))))))))))) (String ((Ascii (true, true,
-      true, true, false, false, true, false)), (String ((Ascii (false, true,
-      false, false, true, true, true, false)), (String ((Ascii (true, false,
-      false, true, false, true, true, false)), (String ((Ascii (true, true,
-      true, false, false, true, true, false)), (String ((Ascii (true, false,
-      false, true, false, true, true, false)), (String ((Ascii (false, true,
-      true, true, false, true, true, false)), (String ((Ascii (true, false,
-      false, false, false, true, true, false)), (String ((Ascii (false,
-      false, true, false, true, true, true, false)), (String ((Ascii (true,
-      true, true, true, false, true, true, false)), (String ((Ascii (false,
-      true, false, false, true, true, true, false)), (String ((Ascii (true,
-      true, false, false, false, false, true, false)), (String ((Ascii (true,
-      false, false, true, false, true, true, false)), (String ((Ascii (false,
-      false, true, false, true, true, true, false)), (String ((Ascii (true,
-      false, false, true, true, true, true, false)), (String ((Ascii (true,
-      true, false, false, true, false, true, false)), (String ((Ascii (false,
-      false, true, false, true, true, true, false)), (String ((Ascii (true,
-      false, false, false, false, true, true, false)), (String ((Ascii
-      (false, false, true, false, true, true, true, false)), (String ((Ascii
-      (true, false, true, false, false, true, true, false)), (String ((Ascii
-      (false, false, false, false, true, false, true, false)), (String
-      ((Ascii (false, true, false, false, true, true, true, false)), (String
-      ((Ascii (true, true, true, true, false, true, true, false)), (String
-      ((Ascii (false, true, true, false, true, true, true, false)), (String
-      ((Ascii (true, false, false, true, false, true, true, false)), (String
-      ((Ascii (false, true, true, true, false, true, true, false)), (String
-      ((Ascii (true, true, false, false, false, true, true, false)), (String
-      ((Ascii (true, false, true, false, false, true, true, false)),
-      EmptyString))))))))))))))))))))))))))))))))))))))))))))))))))))))
-      ((String ((Ascii (true, true, false, false, true, true, true, false)),
-      (String ((Ascii (false, false, true, false, true, true, true, false)),
-      (String ((Ascii (false, true, false, false, true, true, true, false)),
-      (String ((Ascii (true, false, false, true, false, true, true, false)),
-      (String ((Ascii (false, true, true, true, false, true, true, false)),
-      (String ((Ascii (true, true, true, false, false, true, true, false)),
-      (String ((Ascii (true, true, false, false, true, true, true, false)),
-      (String ((Ascii (false, true, true, true, false, true, false, false)),
-      (String ((Ascii (false, false, true, false, true, false, true, false)),
-      (String ((Ascii (false, true, false, false, true, true, true, false)),
-      (String ((Ascii (true, false, false, true, false, true, true, false)),
-      (String ((Ascii (true, false, true, true, false, true, true, false)),
-      (String ((Ascii (true, true, false, false, true, false, true, false)),
-      (String ((Ascii (false, false, false, false, true, true, true, false)),
-      (String ((Ascii (true, false, false, false, false, true, true, false)),
-      (String ((Ascii (true, true, false, false, false, true, true, false)),
-      (String ((Ascii (true, false, true, false, false, true, true, false)),
-      EmptyString)))))))))))))))))))))))))))))))))) :: [])) :: ((mkcut (S (S
-                                                                  (S (S (S (S
-                                                                  (S (S (S (S
-                                                                  (S (S (S (S
-                                                                  (S (S (S (S
-                                                                  (S (S (S (S
-                                                                  (S (S (S (S
-                                                                  (S (S (S (S
-                                                                  (S (S (S (S
-                                                                  (S (S (S (S
-                                                                  O))))))))))))))))))))))))))))))))))))))
-                                                                  (S (S (S (S
-                                                                  (S (S (S (S
-                                                                  (S (S (S (S
-                                                                  (S (S (S (S
-                                                                  (S (S (S (S
-                                                                  (S (S (S (S
-                                                                  (S (S (S (S
-                                                                  (S (S (S (S
-                                                                  (S (S (S (S
-                                                                  (S (S (S (S
-                                                                  (S (S (S (S
-                                                                  (S (S (S (S
-                                                                  (S (S (S (S
-                                                                  (S (S (S (S
-                                                                  (S (S (S (S
-                                                                  (S (S (S (S
-                                                                  (S (S (S (S
-                                                                  (S (S (S (S
-                                                                  (S
-                                                                  O)))))))))))))))))))))))))))))))))))))))))))))))))))))))))))))))))))))))))
-                                                                  (String
-                                                                  ((Ascii
-                                                                  (true,
-                                                                  true, true,
-                                                                  true,
-                                                                  false,
-                                                                  false,
-                                                                  true,
-                                                                  false)),
-                                                                  (String
-                                                                  ((Ascii
-                                                                  (false,
-                                                                  true,
-                                                                  false,
-                                                                  false,
-                                                                  true, true,
-                                                                  true,
-                                                                  false)),
-                                                                  (String
-                                                                  ((Ascii
-                                                                  (true,
-                                                                  false,
-                                                                  false,
-                                                                  true,
-                                                                  false,
-                                                                  true, true,
-                                                                  false)),
-                                                                  (String
-                                                                  ((Ascii
-                                                                  (true,
-                                                                  true, true,
-                                                                  false,
-                                                                  false,
-                                                                  true, true,
-                                                                  false)),
-                                                                  (String
-                                                                  ((Ascii
-                                                                  (true,
-                                                                  false,
-                                                                  false,
-                                                                  true,
-                                                                  false,
-                                                                  true, true,
-                                                                  false)),
-                                                                  (String
-                                                                  ((Ascii
-                                                                  (false,
-                                                                  true, true,
-                                                                  true,
-                                                                  false,
-                                                                  true, true,
-                                                                  false)),
-                                                                  (String
-                                                                  ((Ascii
-                                                                  (true,
-                                                                  false,
-                                                                  false,
-                                                                  false,
-                                                                  false,
-                                                                  true, true,
-                                                                  false)),
-                                                                  (String
-                                                                  ((Ascii
-                                                                  (false,
-                                                                  false,
-                                                                  true,
-                                                                  false,
-                                                                  true, true,
-                                                                  true,
-                                                                  false)),
-                                                                  (String
-                                                                  ((Ascii
-                                                                  (true,
-                                                                  true, true,
-                                                                  true,
-                                                                  false,
-                                                                  true, true,
-                                                                  false)),
-                                                                  (String
-                                                                  ((Ascii
-                                                                  (false,
-                                                                  true,
-                                                                  false,
-                                                                  false,
-                                                                  true, true,
-                                                                  true,
-                                                                  false)),
-                                                                  (String
-                                                                  ((Ascii
-                                                                  (true,
-                                                                  true,
-                                                                  false,
-                                                                  false,
-                                                                  false,
-                                                                  false,
-                                                                  true,
-                                                                  false)),
-                                                                  (String
-                                                                  ((Ascii
-                                                                  (true,
-                                                                  true, true,
-                                                                  true,
-                                                                  false,
-                                                                  true, true,
-                                                                  false)),
-                                                                  (String
-                                                                  ((Ascii
-                                                                  (true,
-                                                                  false,
-                                                                  true,
-                                                                  false,
-                                                                  true, true,
-                                                                  true,
-                                                                  false)),
-                                                                  (String
-                                                                  ((Ascii
-                                                                  (false,
-                                                                  true, true,
-                                                                  true,
-                                                                  false,
-                                                                  true, true,
-                                                                  false)),
-                                                                  (String
-                                                                  ((Ascii
-                                                                  (false,
-                                                                  false,
-                                                                  true,
-                                                                  false,
-                                                                  true, true,
-                                                                  true,
-                                                                  false)),
-                                                                  (String
-                                                                  ((Ascii
-                                                                  (false,
-                                                                  true,
-                                                                  false,
-                                                                  false,
-                                                                  true, true,
-                                                                  true,
-                                                                  false)),
-                                                                  (String
-                                                                  ((Ascii
-                                                                  (true,
-                                                                  false,
-                                                                  false,
-                                                                  true, true,
-                                                                  true, true,
-                                                                  false)),
-                                                                  (String
-                                                                  ((Ascii
-                                                                  (false,
-                                                                  false,
-                                                                  false,
-                                                                  false,
-                                                                  true,
-                                                                  false,
-                                                                  true,
-                                                                  false)),
-                                                                  (String
-                                                                  ((Ascii
-                                                                  (true,
-                                                                  true, true,
-                                                                  true,
-                                                                  false,
-                                                                  true, true,
-                                                                  false)),
-                                                                  (String
-                                                                  ((Ascii
-                                                                  (true,
-                                                                  true,
-                                                                  false,
-                                                                  false,
-                                                                  true, true,
-                                                                  true,
-                                                                  false)),
-                                                                  (String
-                                                                  ((Ascii
-                                                                  (false,
-                                                                  false,
-                                                                  true,
-                                                                  false,
-                                                                  true, true,
-                                                                  true,
-                                                                  false)),
-                                                                  (String
-                                                                  ((Ascii
-                                                                  (true,
-                                                                  false,
-                                                                  false,
-                                                                  false,
-                                                                  false,
-                                                                  true, true,
-                                                                  false)),
-                                                                  (String
-                                                                  ((Ascii
-                                                                  (false,
-                                                                  false,
-                                                                  true, true,
-                                                                  false,
-                                                                  true, true,
-                                                                  false)),
-                                                                  (String
-                                                                  ((Ascii
-                                                                  (true,
-                                                                  true,
-                                                                  false,
-                                                                  false,
-                                                                  false,
-                                                                  false,
-                                                                  true,
-                                                                  false)),
-                                                                  (String
-                                                                  ((Ascii
-                                                                  (true,
-                                                                  true, true,
-                                                                  true,
-                                                                  false,
-                                                                  true, true,
-                                                                  false)),
-                                                                  (String
-                                                                  ((Ascii
-                                                                  (false,
-                                                                  false,
-                                                                  true,
-                                                                  false,
-                                                                  false,
-                                                                  true, true,
-                                                                  false)),
-                                                                  (String
-                                                                  ((Ascii
-                                                                  (true,
-                                                                  false,
-                                                                  true,
-                                                                  false,
-                                                                  false,
-                                                                  true, true,
-                                                                  false)),
-                                                                  EmptyString))))))))))))))))))))))))))))))))))))))))))))))))))))))
-                                                                  ((String
-                                                                  ((Ascii
-                                                                  (true,
-                                                                  true,
-                                                                  false,
-                                                                  false,
-                                                                  true, true,
-                                                                  true,
-                                                                  false)),
-                                                                  (String
-                                                                  ((Ascii
-                                                                  (false,
-                                                                  false,
-                                                                  true,
-                                                                  false,
-                                                                  true, true,
-                                                                  true,
-                                                                  false)),
-                                                                  (String
-                                                                  ((Ascii
-                                                                  (false,
-                                                                  true,
-                                                                  false,
-                                                                  false,
-                                                                  true, true,
-                                                                  true,
-                                                                  false)),
-                                                                  (String
-                                                                  ((Ascii
-                                                                  (true,
-                                                                  false,
-                                                                  false,
-                                                                  true,
-                                                                  false,
-                                                                  true, true,
-                                                                  false)),
-                                                                  (String
-                                                                  ((Ascii
-                                                                  (false,
-                                                                  true, true,
-                                                                  true,
-                                                                  false,
-                                                                  true, true,
-                                                                  false)),
-                                                                  (String
-                                                                  ((Ascii
-                                                                  (true,
-                                                                  true, true,
-                                                                  false,
-                                                                  false,
-                                                                  true, true,
-                                                                  false)),
-                                                                  (String
-                                                                  ((Ascii
-                                                                  (true,
-                                                                  true,
-                                                                  false,
-                                                                  false,
-                                                                  true, true,
-                                                                  true,
-                                                                  false)),
-                                                                  (String
-                                                                  ((Ascii
-                                                                  (false,
-                                                                  true, true,
-                                                                  true,
-                                                                  false,
-                                                                  true,
-                                                                  false,
-                                                                  false)),
-                                                                  (String
-                                                                  ((Ascii
-                                                                  (false,
-                                                                  false,
-                                                                  true,
-                                                                  false,
-                                                                  true,
-                                                                  false,
-                                                                  true,
-                                                                  false)),
-                                                                  (String
-                                                                  ((Ascii
-                                                                  (false,
-                                                                  true,
-                                                                  false,
-                                                                  false,
-                                                                  true, true,
-                                                                  true,
-                                                                  false)),
-                                                                  (String
-                                                                  ((Ascii
-                                                                  (true,
-                                                                  false,
-                                                                  false,
-                                                                  true,
-                                                                  false,
-                                                                  true, true,
-                                                                  false)),
-                                                                  (String
-                                                                  ((Ascii
-                                                                  (true,
-                                                                  false,
-                                                                  true, true,
-                                                                  false,
-                                                                  true, true,
-                                                                  false)),
-                                                                  (String
-                                                                  ((Ascii
-                                                                  (true,
-                                                                  true,
-                                                                  false,
-                                                                  false,
-                                                                  true,
-                                                                  false,
-                                                                  true,
-                                                                  false)),
-                                                                  (String
-                                                                  ((Ascii
-                                                                  (false,
-                                                                  false,
-                                                                  false,
-                                                                  false,
-                                                                  true, true,
-                                                                  true,
-                                                                  false)),
-                                                                  (String
-                                                                  ((Ascii
-                                                                  (true,
-                                                                  false,
-                                                                  false,
-                                                                  false,
-                                                                  false,
-                                                                  true, true,
-                                                                  false)),
-                                                                  (String
-                                                                  ((Ascii
-                                                                  (true,
-                                                                  true,
-                                                                  false,
-                                                                  false,
-                                                                  false,
-                                                                  true, true,
-                                                                  false)),
-                                                                  (String
-                                                                  ((Ascii
-                                                                  (true,
-                                                                  false,
-                                                                  true,
-                                                                  false,
-                                                                  false,
-                                                                  true, true,
-                                                                  false)),
-                                                                  EmptyString)))))))))))))))))))))))))))))))))) :: [])) :: (
-    (mkcut (S (S (S (S (S (S (S (S (S (S (S (S (S (S (S (S (S (S (S (S (S (S
-      (S (S (S (S (S (S (S (S (S (S (S (S (S (S (S (S (S (S (S (S (S (S (S (S
-      (S (S (S (S (S (S (S (S (S (S (S (S (S (S (S (S (S (S (S (S (S (S (S (S
-      (S (S (S
-      O)))))))))))))))))))))))))))))))))))))))))))))))))))))))))))))))))))))))))
-      (S (S (S (S (S (S (S (S (S (S (S (S (S (S (S (S (S (S (S (S (S (S (S (S
-      (S (S (S (S (S (S (S (S (S (S (S (S (S (S (S (S (S (S (S (S (S (S (S (S
-      (S (S (S (S (S (S (S (S (S (S (S (S (S (S (S (S (S (S (S (S (S (S (S (S
-      (S (S (S (S (S (S (S (S (S (S (S (S (S (S (S
-      O)))))))))))))))))))))))))))))))))))))))))))))))))))))))))))))))))))))))))))))))))))))))
-      EmptyString []) :: ((mkcut (S (S (S (S (S (S (S (S (S (S (S (S (S (S (S
-                            (S (S (S (S (S (S (S (S (S (S (S (S (S (S (S (S
-                            (S (S (S (S (S (S (S (S (S (S (S (S (S (S (S (S
-                            (S (S (S (S (S (S (S (S (S (S (S (S (S (S (S (S
-                            (S (S (S (S (S (S (S (S (S (S (S (S (S (S (S (S
-                            (S (S (S (S (S (S (S (S
-                            O)))))))))))))))))))))))))))))))))))))))))))))))))))))))))))))))))))))))))))))))))))))))
-                            (S (S (S (S (S (S (S (S (S (S (S (S (S (S (S (S
-                            (S (S (S (S (S (S (S (S (S (S (S (S (S (S (S (S
-                            (S (S (S (S (S (S (S (S (S (S (S (S (S (S (S (S
-                            (S (S (S (S (S (S (S (S (S (S (S (S (S (S (S (S
-                            (S (S (S (S (S (S (S (S (S (S (S (S (S (S (S (S
-                            (S (S (S (S (S (S (S (S (S (S (S (S (S (S
-                            O))))))))))))))))))))))))))))))))))))))))))))))))))))))))))))))))))))))))))))))))))))))))))))))
-                            (String ((Ascii (true, false, true, false, false,
-                            false, true, false)), (String ((Ascii (false,
-                            true, true, true, false, true, true, false)),
-                            (String ((Ascii (false, false, true, false, true,
-                            true, true, false)), (String ((Ascii (false,
-                            true, false, false, true, true, true, false)),
-                            (String ((Ascii (true, false, false, true, true,
-                            true, true, false)), (String ((Ascii (false,
-                            false, true, false, false, false, true, false)),
-                            (String ((Ascii (true, false, true, false, false,
-                            true, true, false)), (String ((Ascii (false,
-                            false, true, false, true, true, true, false)),
-                            (String ((Ascii (true, false, false, false,
-                            false, true, true, false)), (String ((Ascii
-                            (true, false, false, true, false, true, true,
-                            false)), (String ((Ascii (false, false, true,
-                            true, false, true, true, false)), (String ((Ascii
-                            (true, true, false, false, true, false, true,
-                            false)), (String ((Ascii (true, false, true,
-                            false, false, true, true, false)), (String
-                            ((Ascii (true, false, false, false, true, true,
-                            true, false)), (String ((Ascii (true, false,
-                            true, false, true, true, true, false)), (String
-                            ((Ascii (true, false, true, false, false, true,
-                            true, false)), (String ((Ascii (false, true,
-                            true, true, false, true, true, false)), (String
-                            ((Ascii (true, true, false, false, false, true,
-                            true, false)), (String ((Ascii (true, false,
-                            true, false, false, true, true, false)), (String
-                            ((Ascii (false, true, true, true, false, false,
-                            true, false)), (String ((Ascii (true, false,
-                            true, false, true, true, true, false)), (String
-                            ((Ascii (true, false, true, true, false, true,
-                            true, false)), (String ((Ascii (false, true,
-                            false, false, false, true, true, false)), (String
-                            ((Ascii (true, false, true, false, false, true,
-                            true, false)), (String ((Ascii (false, true,
-                            false, false, true, true, true, false)),
-                            EmptyString))))))))))))))))))))))))))))))))))))))))))))))))))
-                            ((String ((Ascii (false, false, false, false,
-                            true, true, true, false)), (String ((Ascii (true,
-                            false, false, false, false, true, true, false)),
-                            (String ((Ascii (false, true, false, false, true,
-                            true, true, false)), (String ((Ascii (true, true,
-                            false, false, true, true, true, false)), (String
-                            ((Ascii (true, false, true, false, false, true,
-                            true, false)), (String ((Ascii (false, true,
-                            true, true, false, false, true, false)), (String
-                            ((Ascii (true, false, true, false, true, true,
-                            true, false)), (String ((Ascii (true, false,
-                            true, true, false, true, true, false)), (String
-                            ((Ascii (false, true, true, false, false, false,
-                            true, false)), (String ((Ascii (true, false,
-                            false, true, false, true, true, false)), (String
-                            ((Ascii (true, false, true, false, false, true,
-                            true, false)), (String ((Ascii (false, false,
-                            true, true, false, true, true, false)), (String
-                            ((Ascii (false, false, true, false, false, true,
-                            true, false)),
-                            EmptyString)))))))))))))))))))))))))) :: [])) :: [])))))) }
-
-(** val l_Addenda13 : layout **)
-
-let l_Addenda13 =
-  { l_name = (String ((Ascii (true, false, false, false, false, false, true,
-    false)), (String ((Ascii (false, false, true, false, false, true, true,
-    false)), (String ((Ascii (false, false, true, false, false, true, true,
-    false)), (String ((Ascii (true, false, true, false, false, true, true,
-    false)), (String ((Ascii (false, true, true, true, false, true, true,
-    false)), (String ((Ascii (false, false, true, false, false, true, true,
-    false)), (String ((Ascii (true, false, false, false, false, true, true,
-    false)), (String ((Ascii (true, false, false, false, true, true, false,
-    false)), (String ((Ascii (true, true, false, false, true, true, false,
-    false)), EmptyString)))))))))))))))))); l_ix = IRune; l_segs = ((SLit
-    ((Npos (XI (XI (XI (XO (XI XH)))))) :: [])) :: ((SRaw (String ((Ascii
-    (false, false, true, false, true, false, true, false)), (String ((Ascii
-    (true, false, false, true, true, true, true, false)), (String ((Ascii
-    (false, false, false, false, true, true, true, false)), (String ((Ascii
-    (true, false, true, false, false, true, true, false)), (String ((Ascii
-    (true, true, false, false, false, false, true, false)), (String ((Ascii
-    (true, true, true, true, false, true, true, false)), (String ((Ascii
-    (false, false, true, false, false, true, true, false)), (String ((Ascii
-    (true, false, true, false, false, true, true, false)),
-    EmptyString))))))))))))))))) :: ((SAlpha ((String ((Ascii (true, true,
-    true, true, false, false, true, false)), (String ((Ascii (false, false,
-    true, false, false, false, true, false)), (String ((Ascii (false, true,
-    true, false, false, false, true, false)), (String ((Ascii (true, false,
-    false, true, false, false, true, false)), (String ((Ascii (false, true,
-    true, true, false, false, true, false)), (String ((Ascii (true, false,
-    false, false, false, true, true, false)), (String ((Ascii (true, false,
-    true, true, false, true, true, false)), (String ((Ascii (true, false,
-    true, false, false, true, true, false)), EmptyString)))))))))))))))), (S
-    (S (S (S (S (S (S (S (S (S (S (S (S (S (S (S (S (S (S (S (S (S (S (S (S
-    (S (S (S (S (S (S (S (S (S (S
-    O))))))))))))))))))))))))))))))))))))) :: ((SAlpha ((String ((Ascii
-    (true, true, true, true, false, false, true, false)), (String ((Ascii
-    (false, false, true, false, false, false, true, false)), (String ((Ascii
-    (false, true, true, false, false, false, true, false)), (String ((Ascii
-    (true, false, false, true, false, false, true, false)), (String ((Ascii
-    (true, false, false, true, false, false, true, false)), (String ((Ascii
-    (false, false, true, false, false, false, true, false)), (String ((Ascii
-    (false, true, true, true, false, false, true, false)), (String ((Ascii
-    (true, false, true, false, true, true, true, false)), (String ((Ascii
-    (true, false, true, true, false, true, true, false)), (String ((Ascii
-    (false, true, false, false, false, true, true, false)), (String ((Ascii
-    (true, false, true, false, false, true, true, false)), (String ((Ascii
-    (false, true, false, false, true, true, true, false)), (String ((Ascii
-    (true, false, false, false, true, false, true, false)), (String ((Ascii
-    (true, false, true, false, true, true, true, false)), (String ((Ascii
-    (true, false, false, false, false, true, true, false)), (String ((Ascii
-    (false, false, true, true, false, true, true, false)), (String ((Ascii
-    (true, false, false, true, false, true, true, false)), (String ((Ascii
-    (false, true, true, false, false, true, true, false)), (String ((Ascii
-    (true, false, false, true, false, true, true, false)), (String ((Ascii
-    (true, false, true, false, false, true, true, false)), (String ((Ascii
-    (false, true, false, false, true, true, true, false)),
-    EmptyString)))))))))))))))))))))))))))))))))))))))))), (S (S
-    O)))) :: ((SAlpha ((String ((Ascii (true, true, true, true, false, false,
-    true, false)), (String ((Ascii (false, false, true, false, false, false,
-    true, false)), (String ((Ascii (false, true, true, false, false, false,
-    true, false)), (String ((Ascii (true, false, false, true, false, false,
-    true, false)), (String ((Ascii (true, false, false, true, false, false,
-    true, false)), (String ((Ascii (false, false, true, false, false, true,
-    true, false)), (String ((Ascii (true, false, true, false, false, true,
-    true, false)), (String ((Ascii (false, true, true, true, false, true,
-    true, false)), (String ((Ascii (false, false, true, false, true, true,
-    true, false)), (String ((Ascii (true, false, false, true, false, true,
-    true, false)), (String ((Ascii (false, true, true, false, false, true,
-    true, false)), (String ((Ascii (true, false, false, true, false, true,
-    true, false)), (String ((Ascii (true, true, false, false, false, true,
-    true, false)), (String ((Ascii (true, false, false, false, false, true,
-    true, false)), (String ((Ascii (false, false, true, false, true, true,
-    true, false)), (String ((Ascii (true, false, false, true, false, true,
-    true, false)), (String ((Ascii (true, true, true, true, false, true,
-    true, false)), (String ((Ascii (false, true, true, true, false, true,
-    true, false)), EmptyString)))))))))))))))))))))))))))))))))))), (S (S (S
-    (S (S (S (S (S (S (S (S (S (S (S (S (S (S (S (S (S (S (S (S (S (S (S (S
-    (S (S (S (S (S (S (S O)))))))))))))))))))))))))))))))))))) :: ((SAlpha
-    ((String ((Ascii (true, true, true, true, false, false, true, false)),
-    (String ((Ascii (false, false, true, false, false, false, true, false)),
-    (String ((Ascii (false, true, true, false, false, false, true, false)),
-    (String ((Ascii (true, false, false, true, false, false, true, false)),
-    (String ((Ascii (false, true, false, false, false, false, true, false)),
-    (String ((Ascii (false, true, false, false, true, true, true, false)),
-    (String ((Ascii (true, false, false, false, false, true, true, false)),
-    (String ((Ascii (false, true, true, true, false, true, true, false)),
-    (String ((Ascii (true, true, false, false, false, true, true, false)),
-    (String ((Ascii (false, false, false, true, false, true, true, false)),
-    (String ((Ascii (true, true, false, false, false, false, true, false)),
-    (String ((Ascii (true, true, true, true, false, true, true, false)),
-    (String ((Ascii (true, false, true, false, true, true, true, false)),
-    (String ((Ascii (false, true, true, true, false, true, true, false)),
-    (String ((Ascii (false, false, true, false, true, true, true, false)),
-    (String ((Ascii (false, true, false, false, true, true, true, false)),
-    (String ((Ascii (true, false, false, true, true, true, true, false)),
-    (String ((Ascii (true, true, false, false, false, false, true, false)),
-    (String ((Ascii (true, true, true, true, false, true, true, false)),
-    (String ((Ascii (false, false, true, false, false, true, true, false)),
-    (String ((Ascii (true, false, true, false, false, true, true, false)),
-    EmptyString)))))))))))))))))))))))))))))))))))))))))), (S (S (S
-    O))))) :: ((SLit ((Npos (XO (XO (XO (XO (XO XH)))))) :: ((Npos (XO (XO
-    (XO (XO (XO XH)))))) :: ((Npos (XO (XO (XO (XO (XO XH)))))) :: ((Npos (XO
-    (XO (XO (XO (XO XH)))))) :: ((Npos (XO (XO (XO (XO (XO XH)))))) :: ((Npos
-    (XO (XO (XO (XO (XO XH)))))) :: ((Npos (XO (XO (XO (XO (XO
-    XH)))))) :: ((Npos (XO (XO (XO (XO (XO XH)))))) :: ((Npos (XO (XO (XO (XO
-    (XO XH)))))) :: ((Npos (XO (XO (XO (XO (XO
-    XH)))))) :: []))))))))))) :: ((SNum ((String ((Ascii (true, false, true,
-    false, false, false, true, false)), (String ((Ascii (false, true, true,
-    true, false, true, true, false)), (String ((Ascii (false, false, true,
-    false, true, true, true, false)), (String ((Ascii (false, true, false,
-    false, true, true, true, false)), (String ((Ascii (true, false, false,
-    true, true, true, true, false)), (String ((Ascii (false, false, true,
-    false, false, false, true, false)), (String ((Ascii (true, false, true,
-    false, false, true, true, false)), (String ((Ascii (false, false, true,
-    false, true, true, true, false)), (String ((Ascii (true, false, false,
-    false, false, true, true, false)), (String ((Ascii (true, false, false,
-    true, false, true, true, false)), (String ((Ascii (false, false, true,
-    true, false, true, true, false)), (String ((Ascii (true, true, false,
-    false, true, false, true, false)), (String ((Ascii (true, false, true,
-    false, false, true, true, false)), (String ((Ascii (true, false, false,
-    false, true, true, true, false)), (String ((Ascii (true, false, true,
-    false, true, true, true, false)), (String ((Ascii (true, false, true,
-    false, false, true, true, false)), (String ((Ascii (false, true, true,
-    true, false, true, true, false)), (String ((Ascii (true, true, false,
-    false, false, true, true, false)), (String ((Ascii (true, false, true,
-    false, false, true, true, false)), (String ((Ascii (false, true, true,
-    true, false, false, true, false)), (String ((Ascii (true, false, true,
-    false, true, true, true, false)), (String ((Ascii (true, false, true,
-    true, false, true, true, false)), (String ((Ascii (false, true, false,
-    false, false, true, true, false)), (String ((Ascii (true, false, true,
-    false, false, true, true, false)), (String ((Ascii (false, true, false,
-    false, true, true, true, false)),
-    EmptyString)))))))))))))))))))))))))))))))))))))))))))))))))), (S (S (S
-    (S (S (S (S O))))))))) :: [])))))))); l_cuts =
-    ((mkcut O (S O) EmptyString []) :: ((mkcut (S O) (S (S (S O))) (String
-                                          ((Ascii (false, false, true, false,
-                                          true, false, true, false)), (String
-                                          ((Ascii (true, false, false, true,
-                                          true, true, true, false)), (String
-                                          ((Ascii (false, false, false,
-                                          false, true, true, true, false)),
-                                          (String ((Ascii (true, false, true,
-                                          false, false, true, true, false)),
-                                          (String ((Ascii (true, true, false,
-                                          false, false, false, true, false)),
-                                          (String ((Ascii (true, true, true,
-                                          true, false, true, true, false)),
-                                          (String ((Ascii (false, false,
-                                          true, false, false, true, true,
-                                          false)), (String ((Ascii (true,
-                                          false, true, false, false, true,
-                                          true, false)),
-                                          EmptyString)))))))))))))))) []) :: (
-    (mkcut (S (S (S O))) (S (S (S (S (S (S (S (S (S (S (S (S (S (S (S (S (S
-      (S (S (S (S (S (S (S (S (S (S (S (S (S (S (S (S (S (S (S (S (S
-      O)))))))))))))))))))))))))))))))))))))) (String ((Ascii (true, true,
-      true, true, false, false, true, false)), (String ((Ascii (false, false,
-      true, false, false, false, true, false)), (String ((Ascii (false, true,
-      true, false, false, false, true, false)), (String ((Ascii (true, false,
-      false, true, false, false, true, false)), (String ((Ascii (false, true,
-      true, true, false, false, true, false)), (String ((Ascii (true, false,
-      false, false, false, true, true, false)), (String ((Ascii (true, false,
-      true, true, false, true, true, false)), (String ((Ascii (true, false,
-      true, false, false, true, true, false)), EmptyString))))))))))))))))
-      ((String ((Ascii (true, true, false, false, true, true, true, false)),
-      (String ((Ascii (false, false, true, false, true, true, true, false)),
-      (String ((Ascii (false, true, false, false, true, true, true, false)),
-      (String ((Ascii (true, false, false, true, false, true, true, false)),
-      (String ((Ascii (false, true, true, true, false, true, true, false)),
-      (String ((Ascii (true, true, true, false, false, true, true, false)),
-      (String ((Ascii (true, true, false, false, true, true, true, false)),
-      (String ((Ascii (false, true, true, true, false, true, false, false)),
-      (String ((Ascii (false, false, true, false, true, false, true, false)),
-      (String ((Ascii (false, true, false, false, true, true, true, false)),
-      (String ((Ascii (true, false, false, true, false, true, true, false)),
-      (String ((Ascii (true, false, true, true, false, true, true, false)),
-      (String ((Ascii (true, true, false, false, true, false, true, false)),
-      (String ((Ascii (false, false, false, false, true, true, true, false)),
-      (String ((Ascii (true, false, false, false, false, true, true, false)),
-      (String ((Ascii (true, true, false, false, false, true, true, false)),
-      (String ((Ascii (true, false, true, false, false, true, true, false)),
-      EmptyString)))))))))))))))))))))))))))))))))) :: [])) :: ((mkcut (S (S
-                                                                  (S (S (S (S
-                                                                  (S (S (S (S
-                                                                  (S (S (S (S
-                                                                  (S (S (S (S
-                                                                  (S (S (S (S
-                                                                  (S (S (S (S
-                                                                  (S (S (S (S
-                                                                  (S (S (S (S
-                                                                  (S (S (S (S
-                                                                  O))))))))))))))))))))))))))))))))))))))
-                                                                  (S (S (S (S
-                                                                  (S (S (S (S
-                                                                  (S (S (S (S
-                                                                  (S (S (S (S
-                                                                  (S (S (S (S
-                                                                  (S (S (S (S
-                                                                  (S (S (S (S
-                                                                  (S (S (S (S
-                                                                  (S (S (S (S
-                                                                  (S (S (S (S
-                                                                  O))))))))))))))))))))))))))))))))))))))))
-                                                                  (String
-                                                                  ((Ascii
-                                                                  (true,
-                                                                  true, true,
-                                                                  true,
-                                                                  false,
-                                                                  false,
-                                                                  true,
-                                                                  false)),
-                                                                  (String
-                                                                  ((Ascii
-                                                                  (false,
-                                                                  false,
-                                                                  true,
-                                                                  false,
-                                                                  false,
-                                                                  false,
-                                                                  true,
-                                                                  false)),
-                                                                  (String
-                                                                  ((Ascii
-                                                                  (false,
-                                                                  true, true,
-                                                                  false,
-                                                                  false,
-                                                                  false,
-                                                                  true,
-                                                                  false)),
-                                                                  (String
-                                                                  ((Ascii
-                                                                  (true,
-                                                                  false,
-                                                                  false,
-                                                                  true,
-                                                                  false,
-                                                                  false,
-                                                                  true,
-                                                                  false)),
-                                                                  (String
-                                                                  ((Ascii
-                                                                  (true,
-                                                                  false,
-                                                                  false,
-                                                                  true,
-                                                                  false,
-                                                                  false,
-                                                                  true,
-                                                                  false)),
-                                                                  (String
-                                                                  ((Ascii
-                                                                  (false,
-                                                                  false,
-                                                                  true,
-                                                                  false,
-                                                                  false,
-                                                                  false,
-                                                                  true,
-                                                                  false)),
-                                                                  (String
-                                                                  ((Ascii
-                                                                  (false,
-                                                                  true, true,
-                                                                  true,
-                                                                  false,
-                                                                  false,
-                                                                  true,
-                                                                  false)),
-                                                                  (String
-                                                                  ((Ascii
-                                                                  (true,
-                                                                  false,
-                                                                  true,
-                                                                  false,
-                                                                  true, true,
-                                                                  true,
-                                                                  false)),
-                                                                  (String
-                                                                  ((Ascii
-                                                                  (true,
-                                                                  false,
-                                                                  true, true,
-                                                                  false,
-                                                                  true, true,
-                                                                  false)),
-                                                                  (String
-                                                                  ((Ascii
-                                                                  (false,
-                                                                  true,
-                                                                  false,
-                                                                  false,
-                                                                  false,
-                                                                  true, true,
-                                                                  false)),
-                                                                  (String
-                                                                  ((Ascii
-                                                                  (true,
-                                                                  false,
-                                                                  true,
-                                                                  false,
-                                                                  false,
-                                                                  true, true,
-                                                                  false)),
-                                                                  (String
-                                                                  ((Ascii
-                                                                  (false,
-                                                                  true,
-                                                                  false,
-                                                                  false,
-                                                                  true, true,
-                                                                  true,
-                                                                  false)),
-                                                                  (String
-                                                                  ((Ascii
-                                                                  (true,
-                                                                  false,
-                                                                  false,
-                                                                  false,
-                                                                  true,
-                                                                  false,
-                                                                  true,
-                                                                  false)),
-                                                                  (String
-                                                                  ((Ascii
-                                                                  (true,
-                                                                  false,
-                                                                  true,
-                                                                  false,
-                                                                  true, true,
-                                                                  true,
-                                                                  false)),
-                                                                  (String
-                                                                  ((Ascii
-                                                                  (true,
-                                                                  false,
-                                                                  false,
-                                                                  false,
-                                                                  false,
-                                                                  true, true,
-                                                                  false)),
-                                                                  (String
-                                                                  ((Ascii
-                                                                  (false,
-                                                                  false,
-                                                                  true, true,
-                                                                  false,
-                                                                  true, true,
-                                                                  false)),
-                                                                  (String
-                                                                  ((Ascii
-                                                                  (true,
-                                                                  false,
-                                                                  false,
-                                                                  true,
-                                                                  false,
-                                                                  true, true,
-                                                                  false)),
-                                                                  (String
-                                                                  ((Ascii
-                                                                  (false,
-                                                                  true, true,
-                                                                  false,
-                                                                  false,
-                                                                  true, true,
-                                                                  false)),
-                                                                  (String
-                                                                  ((Ascii
-                                                                  (true,
-                                                                  false,
-                                                                  false,
-                                                                  true,
-                                                                  false,
-                                                                  true, true,
-                                                                  false)),
-                                                                  (String
-                                                                  ((Ascii
-                                                                  (true,
-                                                                  false,
-                                                                  true,
-                                                                  false,
-                                                                  false,
-                                                                  true, true,
-                                                                  false)),
-                                                                  (String
-                                                                  ((Ascii
-                                                                  (false,
-                                                                  true,
-                                                                  false,
-                                                                  false,
-                                                                  true, true,
-                                                                  true,
-                                                                  false)),
-                                                                  EmptyString))))))))))))))))))))))))))))))))))))))))))
-                                                                  []) :: (
-    (mkcut (S (S (S (S (S (S (S (S (S (S (S (S (S (S (S (S (S (S (S (S (S (S
-      (S (S (S (S (S (S (S (S (S (S (S (S (S (S (S (S (S (S
-      O)))))))))))))))))))))))))))))))))))))))) (S (S (S (S (S (S (S (S (S (S
-      (S (S (S (S (S (S (S (S (S (S (S (S (S (S (S (S (S (S (S (S (S (S (S (S
-      (S (S (S (S (S (S (S (S (S (S (S (S (S (S (S (S (S (S (S (S (S (S (S (S
-      (S (S (S (S (S (S (S (S (S (S (S (S (S (S (S (S
-      O))))))))))))))))))))))))))))))))))))))))))))))))))))))))))))))))))))))))))
-      (String ((Ascii (true, true, true, true, false, false, true, false)),
-      (String ((Ascii (false, false, true, false, false, false, true,
-      false)), (String ((Ascii (false, true, true, false, false, false, true,
-      false)), (String ((Ascii (true, false, false, true, false, false, true,
-      false)), (String ((Ascii (true, false, false, true, false, false, true,
-      false)), (String ((Ascii (false, false, true, false, false, true, true,
-      false)), (String ((Ascii (true, false, true, false, false, true, true,
-      false)), (String ((Ascii (false, true, true, true, false, true, true,
-      false)), (String ((Ascii (false, false, true, false, true, true, true,
-      false)), (String ((Ascii (true, false, false, true, false, true, true,
-      false)), (String ((Ascii (false, true, true, false, false, true, true,
-      false)), (String ((Ascii (true, false, false, true, false, true, true,
-      false)), (String ((Ascii (true, true, false, false, false, true, true,
-      false)), (String ((Ascii (true, false, false, false, false, true, true,
-      false)), (String ((Ascii (false, false, true, false, true, true, true,
-      false)), (String ((Ascii (true, false, false, true, false, true, true,
-      false)), (String ((Ascii (true, true, true, true, false, true, true,
-      false)), (String ((Ascii (false, true, true, true, false, true, true,
-      false)), EmptyString)))))))))))))))))))))))))))))))))))) ((String
-      ((Ascii (false, false, false, false, true, true, true, false)), (String
-      ((Ascii (true, false, false, false, false, true, true, false)), (String
-      ((Ascii (false, true, false, false, true, true, true, false)), (String
-      ((Ascii (true, true, false, false, true, true, true, false)), (String
-      ((Ascii (true, false, true, false, false, true, true, false)), (String
-      ((Ascii (true, true, false, false, true, false, true, false)), (String
-      ((Ascii (false, false, true, false, true, true, true, false)), (String
-      ((Ascii (false, true, false, false, true, true, true, false)), (String
-      ((Ascii (true, false, false, true, false, true, true, false)), (String
-      ((Ascii (false, true, true, true, false, true, true, false)), (String
-      ((Ascii (true, true, true, false, false, true, true, false)), (String
-      ((Ascii (false, true, true, false, false, false, true, false)), (String
-      ((Ascii (true, false, false, true, false, true, true, false)), (String
-      ((Ascii (true, false, true, false, false, true, true, false)), (String
-      ((Ascii (false, false, true, true, false, true, true, false)), (String
-      ((Ascii (false, false, true, false, false, true, true, false)),
-      EmptyString)))))))))))))))))))))))))))))))) :: [])) :: ((mkcut (S (S (S
-                                                                (S (S (S (S
-                                                                (S (S (S (S
-                                                                (S (S (S (S
-                                                                (S (S (S (S
-                                                                (S (S (S (S
-                                                                (S (S (S (S
-                                                                (S (S (S (S
-                                                                (S (S (S (S
-                                                                (S (S (S (S
-                                                                (S (S (S (S
-                                                                (S (S (S (S
-                                                                (S (S (S (S
-                                                                (S (S (S (S
-                                                                (S (S (S (S
-                                                                (S (S (S (S
-                                                                (S (S (S (S
-                                                                (S (S (S (S
-                                                                (S (S (S
-                                                                O))))))))))))))))))))))))))))))))))))))))))))))))))))))))))))))))))))))))))
-                                                                (S (S (S (S
-                                                                (S (S (S (S
-                                                                (S (S (S (S
-                                                                (S (S (S (S
-                                                                (S (S (S (S
-                                                                (S (S (S (S
-                                                                (S (S (S (S
-                                                                (S (S (S (S
-                                                                (S (S (S (S
-                                                                (S (S (S (S
-                                                                (S (S (S (S
-                                                                (S (S (S (S
-                                                                (S (S (S (S
-                                                                (S (S (S (S
-                                                                (S (S (S (S
-                                                                (S (S (S (S
-                                                                (S (S (S (S
-                                                                (S (S (S (S
-                                                                (S (S (S (S
-                                                                (S
-                                                                O)))))))))))))))))))))))))))))))))))))))))))))))))))))))))))))))))))))))))))))
-                                                                (String
-                                                                ((Ascii
-                                                                (true, true,
-                                                                true, true,
-                                                                false, false,
-                                                                true,
-                                                                false)),
-                                                                (String
-                                                                ((Ascii
-                                                                (false,
-                                                                false, true,
-                                                                false, false,
-                                                                false, true,
-                                                                false)),
-                                                                (String
-                                                                ((Ascii
-                                                                (false, true,
-                                                                true, false,
-                                                                false, false,
-                                                                true,
-                                                                false)),
-                                                                (String
-                                                                ((Ascii
-                                                                (true, false,
-                                                                false, true,
-                                                                false, false,
-                                                                true,
-                                                                false)),
-                                                                (String
-                                                                ((Ascii
-                                                                (false, true,
-                                                                false, false,
-                                                                false, false,
-                                                                true,
-                                                                false)),
-                                                                (String
-                                                                ((Ascii
-                                                                (false, true,
-                                                                false, false,
-                                                                true, true,
-                                                                true,
-                                                                false)),
-                                                                (String
-                                                                ((Ascii
-                                                                (true, false,
-                                                                false, false,
-                                                                false, true,
-                                                                true,
-                                                                false)),
-                                                                (String
-                                                                ((Ascii
-                                                                (false, true,
-                                                                true, true,
-                                                                false, true,
-                                                                true,
-                                                                false)),
-                                                                (String
-                                                                ((Ascii
-                                                                (true, true,
-                                                                false, false,
-                                                                false, true,
-                                                                true,
-                                                                false)),
-                                                                (String
-                                                                ((Ascii
-                                                                (false,
-                                                                false, false,
-                                                                true, false,
-                                                                true, true,
-                                                                false)),
-                                                                (String
-                                                                ((Ascii
-                                                                (true, true,
-                                                                false, false,
-                                                                false, false,
-                                                                true,
-                                                                false)),
-                                                                (String
-                                                                ((Ascii
-                                                                (true, true,
-                                                                true, true,
-                                                                false, true,
-                                                                true,
-                                                                false)),
-                                                                (String
-                                                                ((Ascii
-                                                                (true, false,
-                                                                true, false,
-                                                                true, true,
-                                                                true,
-                                                                false)),
-                                                                (String
-                                                                ((Ascii
-                                                                (false, true,
-                                                                true, true,
-                                                                false, true,
-                                                                true,
-                                                                false)),
-                                                                (String
-                                                                ((Ascii
-                                                                (false,
-                                                                false, true,
-                                                                false, true,
-                                                                true, true,
-                                                                false)),
-                                                                (String
-                                                                ((Ascii
-                                                                (false, true,
-                                                                false, false,
-                                                                true, true,
-                                                                true,
-                                                                false)),
-                                                                (String
-                                                                ((Ascii
-                                                                (true, false,
-                                                                false, true,
-                                                                true, true,
-                                                                true,
-                                                                false)),
-                                                                (String
-                                                                ((Ascii
-                                                                (true, true,
-                                                                false, false,
-                                                                false, false,
-                                                                true,
-                                                                false)),
-                                                                (String
-                                                                ((Ascii
-                                                                (true, true,
-                                                                true, true,
-                                                                false, true,
-                                                                true,
-                                                                false)),
-                                                                (String
-                                                                ((Ascii
-                                                                (false,
-                                                                false, true,
-                                                                false, false,
-                                                                true, true,
-                                                                false)),
-                                                                (String
-                                                                ((Ascii
-                                                                (true, false,
-                                                                true, false,
-                                                                false, true,
-                                                                true,
-                                                                false)),
-                                                                EmptyString))))))))))))))))))))))))))))))))))))))))))
-                                                                ((String
-                                                                ((Ascii
-                                                                (true, true,
-                                                                false, false,
-                                                                true, true,
-                                                                true,
-                                                                false)),
-                                                                (String
-                                                                ((Ascii
-                                                                (false,
-                                                                false, true,
-                                                                false, true,
-                                                                true, true,
-                                                                false)),
-                                                                (String
-                                                                ((Ascii
-                                                                (false, true,
-                                                                false, false,
-                                                                true, true,
-                                                                true,
-                                                                false)),
-                                                                (String
-                                                                ((Ascii
-                                                                (true, false,
-                                                                false, true,
-                                                                false, true,
-                                                                true,
-                                                                false)),
-                                                                (String
-                                                                ((Ascii
-                                                                (false, true,
-                                                                true, true,
-                                                                false, true,
-                                                                true,
-                                                                false)),
-                                                                (String
-                                                                ((Ascii
-                                                                (true, true,
-                                                                true, false,
-                                                                false, true,
-                                                                true,
-                                                                false)),
-                                                                (String
-                                                                ((Ascii
-                                                                (true, true,
-                                                                false, false,
-                                                                true, true,
-                                                                true,
-                                                                false)),
-                                                                (String
-                                                                ((Ascii
-                                                                (false, true,
-                                                                true, true,
-                                                                false, true,
-                                                                false,
-                                                                false)),
-                                                                (String
-                                                                ((Ascii
-                                                                (false,
-                                                                false, true,
-                                                                false, true,
-                                                                false, true,
-                                                                false)),
-                                                                (String
-                                                                ((Ascii
-                                                                (false, true,
-                                                                false, false,
-                                                                true, true,
-                                                                true,
-                                                                false)),
-                                                                (String
-                                                                ((Ascii
-                                                                (true, false,
-                                                                false, true,
-                                                                false, true,
-                                                                true,
-                                                                false)),
-                                                                (String
-                                                                ((Ascii
-                                                                (true, false,
-                                                                true, true,
-                                                                false, true,
-                                                                true,
-                                                                false)),
-                                                                (String
-                                                                ((Ascii
-                                                                (true, true,
-                                                                false, false,
-                                                                true, false,
-                                                                true,
-                                                                false)),
-                                                                (String
-                                                                ((Ascii
-                                                                (false,
-                                                                false, false,
-                                                                false, true,
-                                                                true, true,
-                                                                false)),
-                                                                (String
-                                                                ((Ascii
-                                                                (true, false,
-                                                                false, false,
-                                                                false, true,
-                                                                true,
-                                                                false)),
-                                                                (String
-                                                                ((Ascii
-                                                                (true, true,
-                                                                false, false,
-                                                                false, true,
-                                                                true,
-                                                                false)),
-                                                                (String
-                                                                ((Ascii
-                                                                (true, false,
-                                                                true, false,
-                                                                false, true,
-                                                                true,
-                                                                false)),
-                                                                EmptyString)))))))))))))))))))))))))))))))))) :: [])) :: (
-    (mkcut (S (S (S (S (S (S (S (S (S (S (S (S (S (S (S (S (S (S (S (S (S (S
-      (S (S (S (S (S (S (S (S (S (S (S (S (S (S (S (S (S (S (S (S (S (S (S (S
-      (S (S (S (S (S (S (S (S (S (S (S (S (S (S (S (S (S (S (S (S (S (S (S (S
-      (S (S (S (S (S (S (S
-      O)))))))))))))))))))))))))))))))))))))))))))))))))))))))))))))))))))))))))))))
-      (S (S (S (S (S (S (S (S (S (S (S (S (S (S (S (S (S (S (S (S (S (S (S (S
-      (S (S (S (S (S (S (S (S (S (S (S (S (S (S (S (S (S (S (S (S (S (S (S (S
-      (S (S (S (S (S (S (S (S (S (S (S (S (S (S (S (S (S (S (S (S (S (S (S (S
-      (S (S (S (S (S (S (S (S (S (S (S (S (S (S (S
-      O)))))))))))))))))))))))))))))))))))))))))))))))))))))))))))))))))))))))))))))))))))))))
-      EmptyString []) :: ((mkcut (S (S (S (S (S (S (S (S (S (S (S (S (S (S (S
-                            (S (S (S (S (S (S (S (S (S (S (S (S (S (S (S (S
-                            (S (S (S (S (S (S (S (S (S (S (S (S (S (S (S (S
-                            (S (S (S (S (S (S (S (S (S (S (S (S (S (S (S (S
-                            (S (S (S (S (S (S (S (S (S (S (S (S (S (S (S (S
-                            (S (S (S (S (S (S (S (S
-                            O)))))))))))))))))))))))))))))))))))))))))))))))))))))))))))))))))))))))))))))))))))))))
-                            (S (S (S (S (S (S (S (S (S (S (S (S (S (S (S (S
-                            (S (S (S (S (S (S (S (S (S (S (S (S (S (S (S (S
-                            (S (S (S (S (S (S (S (S (S (S (S (S (S (S (S (S
-                            (S (S (S (S (S (S (S (S (S (S (S (S (S (S (S (S
-                            (S (S (S (S (S (S (S (S (S (S (S (S (S (S (S (S
-                            (S (S (S (S (S (S (S (S (S (S (S (S (S (S
-                            O))))))))))))))))))))))))))))))))))))))))))))))))))))))))))))))))))))))))))))))))))))))))))))))
-                            (String ((Ascii (true, false, true, false, false,
-                            false, true, false)), (String ((Ascii (false,
-                            true, true, true, false, true, true, false)),
-                            (String ((Ascii (false, false, true, false, true,
-                            true, true, false)), (String ((Ascii (false,
-                            true, false, false, true, true, true, false)),
-                            (String ((Ascii (true, false, false, true, true,
-                            true, true, false)), (String ((Ascii (false,
-                            false, true, false, false, false, true, false)),
-                            (String ((Ascii (true, false, true, false, false,
-                            true, true, false)), (String ((Ascii (false,
-                            false, true, false, true, true, true, false)),
-                            (String ((Ascii (true, false, false, false,
-                            false, true, true, false)), (String ((Ascii
-                            (true, false, false, true, false, true, true,
-                            false)), (String ((Ascii (false, false, true,
-                            true, false, true, true, false)), (String ((Ascii
-                            (true, true, false, false, true, false, true,
-                            false)), (String ((Ascii (true, false, true,
-                            false, false, true, true, false)), (String
-                            ((Ascii (true, false, false, false, true, true,
-                            true, false)), (String ((Ascii (true, false,
-                            true, false, true, true, true, false)), (String
-                            ((Ascii (true, false, true, false, false, true,
-                            true, false)), (String ((Ascii (false, true,
-                            true, true, false, true, true, false)), (String
-                            ((Ascii (true, true, false, false, false, true,
-                            true, false)), (String ((Ascii (true, false,
-                            true, false, false, true, true, false)), (String
-                            ((Ascii (false, true, true, true, false, false,
-                            true, false)), (String ((Ascii (true, false,
-                            true, false, true, true, true, false)), (String
-                            ((Ascii (true, false, true, true, false, true,
-                            true, false)), (String ((Ascii (false, true,
-                            false, false, false, true, true, false)), (String
-                            ((Ascii (true, false, true, false, false, true,
-                            true, false)), (String ((Ascii (false, true,
-                            false, false, true, true, true, false)),
-                            EmptyString))))))))))))))))))))))))))))))))))))))))))))))))))
-                            ((String ((Ascii (false, false, false, false,
-                            true, true, true, false)), (String ((Ascii (true,
-                            false, false, false, false, true, true, false)),
-                            (String ((Ascii (false, true, false, false, true,
-                            true, true, false)), (String ((Ascii (true, true,
-                            false, false, true, true, true, false)), (String
-                            ((Ascii (true, false, true, false, false, true,
-                            true, false)), (String ((Ascii (false, true,
-                            true, true, false, false, true, false)), (String
-                            ((Ascii (true, false, true, false, true, true,
-                            true, false)), (String ((Ascii (true, false,
-                            true, true, false, true, true, false)), (String
-                            ((Ascii (false, true, true, false, false, false,
-                            true, false)), (String ((Ascii (true, false,
-                            false, true, false, true, true, false)), (String
-                            ((Ascii (true, false, true, false, false, true,
-                            true, false)), (String ((Ascii (false, false,
-                            true, true, false, true, true, false)), (String
-                            ((Ascii (false, false, true, false, false, true,
-                            true, false)),
-                            EmptyString)))))))))))))))))))))))))) :: [])) :: [])))))))) }
-
-(** val l_Addenda14 : layout **)
-
-let l_Addenda14 =
-  { l_name = (String ((Ascii (true, false, false, false, false, false, true,
-    false)), (String ((Ascii (false, false, true, false, false, true, true,
-    false)), (String ((Ascii (false, false, true, false, false, true, true,
-    false)), (String ((Ascii (true, false, true, false, false, true, true,
-    false)), (String ((Ascii (false, true, true, true, false, true, true,
-    false)), (String ((Ascii (false, false, true, false, false, true, true,
-    false)), (String ((Ascii (true, false, false, false, false, true, true,
-    false)), (String ((Ascii (true, false, false, false, true, true, false,
-    false)), (String ((Ascii (false, false, true, false, true, true, false,
-    false)), EmptyString)))))))))))))))))); l_ix = IRune; l_segs = ((SLit
-    ((Npos (XI (XI (XI (XO (XI XH)))))) :: [])) :: ((SRaw (String ((Ascii
-    (false, false, true, false, true, false, true, false)), (String ((Ascii
-    (true, false, false, true, true, true, true, false)), (String ((Ascii
-    (false, false, false, false, true, true, true, false)), (String ((Ascii
-    (true, false, true, false, false, true, true, false)), (String ((Ascii
-    (true, true, false, false, false, false, true, false)), (String ((Ascii
-    (true, true, true, true, false, true, true, false)), (String ((Ascii
-    (false, false, true, false, false, true, true, false)), (String ((Ascii
-    (true, false, true, false, false, true, true, false)),
-    EmptyString))))))))))))))))) :: ((SAlpha ((String ((Ascii (false, true,
-    false, false, true, false, true, false)), (String ((Ascii (false, false,
-    true, false, false, false, true, false)), (String ((Ascii (false, true,
-    true, false, false, false, true, false)), (String ((Ascii (true, false,
-    false, true, false, false, true, false)), (String ((Ascii (false, true,
-    true, true, false, false, true, false)), (String ((Ascii (true, false,
-    false, false, false, true, true, false)), (String ((Ascii (true, false,
-    true, true, false, true, true, false)), (String ((Ascii (true, false,
-    true, false, false, true, true, false)), EmptyString)))))))))))))))), (S
-    (S (S (S (S (S (S (S (S (S (S (S (S (S (S (S (S (S (S (S (S (S (S (S (S
-    (S (S (S (S (S (S (S (S (S (S
-    O))))))))))))))))))))))))))))))))))))) :: ((SAlpha ((String ((Ascii
-    (false, true, false, false, true, false, true, false)), (String ((Ascii
-    (false, false, true, false, false, false, true, false)), (String ((Ascii
-    (false, true, true, false, false, false, true, false)), (String ((Ascii
-    (true, false, false, true, false, false, true, false)), (String ((Ascii
-    (true, false, false, true, false, false, true, false)), (String ((Ascii
-    (false, false, true, false, false, false, true, false)), (String ((Ascii
-    (false, true, true, true, false, false, true, false)), (String ((Ascii
-    (true, false, true, false, true, true, true, false)), (String ((Ascii
-    (true, false, true, true, false, true, true, false)), (String ((Ascii
-    (false, true, false, false, false, true, true, false)), (String ((Ascii
-    (true, false, true, false, false, true, true, false)), (String ((Ascii
-    (false, true, false, false, true, true, true, false)), (String ((Ascii
-    (true, false, false, false, true, false, true, false)), (String ((Ascii
-    (true, false, true, false, true, true, true, false)), (String ((Ascii
-    (true, false, false, false, false, true, true, false)), (String ((Ascii
-    (false, false, true, true, false, true, true, false)), (String ((Ascii
-    (true, false, false, true, false, true, true, false)), (String ((Ascii
-    (false, true, true, false, false, true, true, false)), (String ((Ascii
-    (true, false, false, true, false, true, true, false)), (String ((Ascii
-    (true, false, true, false, false, true, true, false)), (String ((Ascii
-    (false, true, false, false, true, true, true, false)),
-    EmptyString)))))))))))))))))))))))))))))))))))))))))), (S (S
-    O)))) :: ((SAlpha ((String ((Ascii (false, true, false, false, true,
-    false, true, false)), (String ((Ascii (false, false, true, false, false,
-    false, true, false)), (String ((Ascii (false, true, true, false, false,
-    false, true, false)), (String ((Ascii (true, false, false, true, false,
-    false, true, false)), (String ((Ascii (true, false, false, true, false,
-    false, true, false)), (String ((Ascii (false, false, true, false, false,
-    true, true, false)), (String ((Ascii (true, false, true, false, false,
-    true, true, false)), (String ((Ascii (false, true, true, true, false,
-    true, true, false)), (String ((Ascii (false, false, true, false, true,
-    true, true, false)), (String ((Ascii (true, false, false, true, false,
-    true, true, false)), (String ((Ascii (false, true, true, false, false,
-    true, true, false)), (String ((Ascii (true, false, false, true, false,
-    true, true, false)), (String ((Ascii (true, true, false, false, false,
-    true, true, false)), (String ((Ascii (true, false, false, false, false,
-    true, true, false)), (String ((Ascii (false, false, true, false, true,
-    true, true, false)), (String ((Ascii (true, false, false, true, false,
-    true, true, false)), (String ((Ascii (true, true, true, true, false,
-    true, true, false)), (String ((Ascii (false, true, true, true, false,
-    true, true, false)), EmptyString)))))))))))))))))))))))))))))))))))), (S
-    (S (S (S (S (S (S (S (S (S (S (S (S (S (S (S (S (S (S (S (S (S (S (S (S
-    (S (S (S (S (S (S (S (S (S
-    O)))))))))))))))))))))))))))))))))))) :: ((SAlpha ((String ((Ascii
-    (false, true, false, false, true, false, true, false)), (String ((Ascii
-    (false, false, true, false, false, false, true, false)), (String ((Ascii
-    (false, true, true, false, false, false, true, false)), (String ((Ascii
-    (true, false, false, true, false, false, true, false)), (String ((Ascii
-    (false, true, false, false, false, false, true, false)), (String ((Ascii
-    (false, true, false, false, true, true, true, false)), (String ((Ascii
-    (true, false, false, false, false, true, true, false)), (String ((Ascii
-    (false, true, true, true, false, true, true, false)), (String ((Ascii
-    (true, true, false, false, false, true, true, false)), (String ((Ascii
-    (false, false, false, true, false, true, true, false)), (String ((Ascii
-    (true, true, false, false, false, false, true, false)), (String ((Ascii
-    (true, true, true, true, false, true, true, false)), (String ((Ascii
-    (true, false, true, false, true, true, true, false)), (String ((Ascii
-    (false, true, true, true, false, true, true, false)), (String ((Ascii
-    (false, false, true, false, true, true, true, false)), (String ((Ascii
-    (false, true, false, false, true, true, true, false)), (String ((Ascii
-    (true, false, false, true, true, true, true, false)), (String ((Ascii
-    (true, true, false, false, false, false, true, false)), (String ((Ascii
-    (true, true, true, true, false, true, true, false)), (String ((Ascii
-    (false, false, true, false, false, true, true, false)), (String ((Ascii
-    (true, false, true, false, false, true, true, false)),
-    EmptyString)))))))))))))))))))))))))))))))))))))))))), (S (S (S
-    O))))) :: ((SLit ((Npos (XO (XO (XO (XO (XO XH)))))) :: ((Npos (XO (XO
-    (XO (XO (XO XH)))))) :: ((Npos (XO (XO (XO (XO (XO XH)))))) :: ((Npos (XO
-    (XO (XO (XO (XO XH)))))) :: ((Npos (XO (XO (XO (XO (XO XH)))))) :: ((Npos
-    (XO (XO (XO (XO (XO XH)))))) :: ((Npos (XO (XO (XO (XO (XO
-    XH)))))) :: ((Npos (XO (XO (XO (XO (XO XH)))))) :: ((Npos (XO (XO (XO (XO
-    (XO XH)))))) :: ((Npos (XO (XO (XO (XO (XO
-    XH)))))) :: []))))))))))) :: ((SNum ((String ((Ascii (true, false, true,
-    false, false, false, true, false)), (String ((Ascii (false, true, true,
-    true, false, true, true, false)), (String ((Ascii (false, false, true,
-    false, true, true, true, false)), (String ((Ascii (false, true, false,
-    false, true, true, true, false)), (String ((Ascii (true, false, false,
-    true, true, true, true, false)), (String ((Ascii (false, false, true,
-    false, false, false, true, false)), (String ((Ascii (true, false, true,
-    false, false, true, true, false)), (String ((Ascii (false, false, true,
-    false, true, true, true, false)), (String ((Ascii (true, false, false,
-    false, false, true, true, false)), (String ((Ascii (true, false, false,
-    true, false, true, true, false)), (String ((Ascii (false, false, true,
-    true, false, true, true, false)), (String ((Ascii (true, true, false,
-    false, true, false, true, false)), (String ((Ascii (true, false, true,
-    false, false, true, true, false)), (String ((Ascii (true, false, false,
-    false, true, true, true, false)), (String ((Ascii (true, false, true,
-    false, true, true, true, false)), (String ((Ascii (true, false, true,
-    false, false, true, true, false)), (String ((Ascii (false, true, true,
-    true, false, true, true, false)), (String ((Ascii (true, true, false,
-    false, false, true, true, false)), (String ((Ascii (true, false, true,
-    false, false, true, true, false)), (String ((Ascii (false, true, true,
-    true, false, false, true, false)), (String ((Ascii (true, false, true,
-    false, true, true, true, false)), (String ((Ascii (true, false, true,
-    true, false, true, true, false)), (String ((Ascii (false, true, false,
-    false, false, true, true, false)), (String ((Ascii (true, false, true,
-    false, false, true, true, false)), (String ((Ascii (false, true, false,
-    false, true, true, true, false)),
-    EmptyString)))))))))))))))))))))))))))))))))))))))))))))))))), (S (S (S
-    (S (S (S (S O))))))))) :: [])))))))); l_cuts =
-    ((mkcut O (S O) EmptyString []) :: ((mkcut (S O) (S (S (S O))) (String
-                                          ((Ascii (false, false, true, false,
-                                          true, false, true, false)), (String
-                                          ((Ascii (true, false, false, true,
-                                          true, true, true, false)), (String
-                                          ((Ascii (false, false, false,
-                                          false, true, true, true, false)),
-                                          (String ((Ascii (true, false, true,
-                                          false, false, true, true, false)),
-                                          (String ((Ascii (true, true, false,
-                                          false, false, false, true, false)),
-                                          (String ((Ascii (true, true, true,
-                                          true, false, true, true, false)),
-                                          (String ((Ascii (false, false,
-                                          true, false, false, true, true,
-                                          false)), (String ((Ascii (true,
-                                          false, true, false, false, true,
-                                          true, false)),
-                                          EmptyString)))))))))))))))) []) :: (
-    (mkcut (S (S (S O))) (S (S (S (S (S (S (S (S (S (S (S (S (S (S (S (S (S
-      (S (S (S (S (S (S (S (S (S (S (S (S (S (S (S (S (S (S (S (S (S
-      O)))))))))))))))))))))))))))))))))))))) (String ((Ascii (false, true,
-      false, false, true, false, true, false)), (String ((Ascii (false,
-      false, true, false, false, false, true, false)), (String ((Ascii
-      (false, true, true, false, false, false, true, false)), (String ((Ascii
-      (true, false, false, true, false, false, true, false)), (String ((Ascii
-      (false, true, true, true, false, false, true, false)), (String ((Ascii
-      (true, false, false, false, false, true, true, false)), (String ((Ascii
-      (true, false, true, true, false, true, true, false)), (String ((Ascii
-      (true, false, true, false, false, true, true, false)),
-      EmptyString)))))))))))))))) ((String ((Ascii (true, true, false, false,
-      true, true, true, false)), (String ((Ascii (false, false, true, false,
-      true, true, true, false)), (String ((Ascii (false, true, false, false,
-      true, true, true, false)), (String ((Ascii (true, false, false, true,
-      false, true, true, false)), (String ((Ascii (false, true, true, true,
-      false, true, true, false)), (String ((Ascii (true, true, true, false,
-      false, true, true, false)), (String ((Ascii (true, true, false, false,
-      true, true, true, false)), (String ((Ascii (false, true, true, true,
-      false, true, false, false)), (String ((Ascii (false, false, true,
-      false, true, false, true, false)), (String ((Ascii (false, true, false,
-      false, true, true, true, false)), (String ((Ascii (true, false, false,
-      true, false, true, true, false)), (String ((Ascii (true, false, true,
-      true, false, true, true, false)), (String ((Ascii (true, true, false,
-      false, true, false, true, false)), (String ((Ascii (false, false,
-      false, false, true, true, true, false)), (String ((Ascii (true, false,
-      false, false, false, true, true, false)), (String ((Ascii (true, true,
-      false, false, false, true, true, false)), (String ((Ascii (true, false,
-      true, false, false, true, true, false)),
-      EmptyString)))))))))))))))))))))))))))))))))) :: [])) :: ((mkcut (S (S
-                                                                  (S (S (S (S
-                                                                  (S (S (S (S
-                                                                  (S (S (S (S
-                                                                  (S (S (S (S
-                                                                  (S (S (S (S
-                                                                  (S (S (S (S
-                                                                  (S (S (S (S
-                                                                  (S (S (S (S
-                                                                  (S (S (S (S
-                                                                  O))))))))))))))))))))))))))))))))))))))
-                                                                  (S (S (S (S
-                                                                  (S (S (S (S
-                                                                  (S (S (S (S
-                                                                  (S (S (S (S
-                                                                  (S (S (S (S
-                                                                  (S (S (S (S
-                                                                  (S (S (S (S
-                                                                  (S (S (S (S
-                                                                  (S (S (S (S
-                                                                  (S (S (S (S
-                                                                  O))))))))))))))))))))))))))))))))))))))))
-                                                                  (String
-                                                                  ((Ascii
-                                                                  (false,
-                                                                  true,
-                                                                  false,
-                                                                  false,
-                                                                  true,
-                                                                  false,
-                                                                  true,
-                                                                  false)),
-                                                                  (String
-                                                                  ((Ascii
-                                                                  (false,
-                                                                  false,
-                                                                  true,
-                                                                  false,
-                                                                  false,
-                                                                  false,
-                                                                  true,
-                                                                  false)),
-                                                                  (String
-                                                                  ((Ascii
-                                                                  (false,
-                                                                  true, true,
-                                                                  false,
-                                                                  false,
-                                                                  false,
-                                                                  true,
-                                                                  false)),
-                                                                  (String
-                                                                  ((Ascii
-                                                                  (true,
-                                                                  false,
-                                                                  false,
-                                                                  true,
-                                                                  false,
-                                                                  false,
-                                                                  true,
-                                                                  false)),
-                                                                  (String
-                                                                  ((Ascii
-                                                                  (true,
-                                                                  false,
-                                                                  false,
-                                                                  true,
-                                                                  false,
-                                                                  false,
-                                                                  true,
-                                                                  false)),
-                                                                  (String
-                                                                  ((Ascii
-                                                                  (false,
-                                                                  false,
-                                                                  true,
-                                                                  false,
-                                                                  false,
-                                                                  false,
-                                                                  true,
-                                                                  false)),
-                                                                  (String
-                                                                  ((Ascii
-                                                                  (false,
-                                                                  true, true,
-                                                                  true,
-                                                                  false,
-                                                                  false,
-                                                                  true,
-                                                                  false)),
-                                                                  (String
-                                                                  ((Ascii
-                                                                  (true,
-                                                                  false,
-                                                                  true,
-                                                                  false,
-                                                                  true, true,
-                                                                  true,
-                                                                  false)),
-                                                                  (String
-                                                                  ((Ascii
-                                                                  (true,
-                                                                  false,
-                                                                  true, true,
-                                                                  false,
-                                                                  true, true,
-                                                                  false)),
-                                                                  (String
-                                                                  ((Ascii
-                                                                  (false,
-                                                                  true,
-                                                                  false,
-                                                                  false,
-                                                                  false,
-                                                                  true, true,
-                                                                  false)),
-                                                                  (String
-                                                                  ((Ascii
-                                                                  (true,
-                                                                  false,
-                                                                  true,
-                                                                  false,
-                                                                  false,
-                                                                  true, true,
-                                                                  false)),
-                                                                  (String
-                                                                  ((Ascii
-                                                                  (false,
-                                                                  true,
-                                                                  false,
-                                                                  false,
-                                                                  true, true,
-                                                                  true,
-                                                                  false)),
-                                                                  (String
-                                                                  ((Ascii
-                                                                  (true,
-                                                                  false,
-                                                                  false,
-                                                                  false,
-                                                                  true,
-                                                                  false,
-                                                                  true,
-                                                                  false)),
-                                                                  (String
-                                                                  ((Ascii
-                                                                  (true,
-                                                                  false,
-                                                                  true,
-                                                                  false,
-                                                                  true, true,
-                                                                  true,
-                                                                  false)),
-                                                                  (String
-                                                                  ((Ascii
-                                                                  (true,
-                                                                  false,
-                                                                  false,
-                                                                  false,
-                                                                  false,
-                                                                  true, true,
-                                                                  false)),
-                                                                  (String
-                                                                  ((Ascii
-                                                                  (false,
-                                                                  false,
-                                                                  true, true,
-                                                                  false,
-                                                                  true, true,
-                                                                  false)),
-                                                                  (String
-                                                                  ((Ascii
-                                                                  (true,
-                                                                  false,
-                                                                  false,
-                                                                  true,
-                                                                  false,
-                                                                  true, true,
-                                                                  false)),
-                                                                  (String
-                                                                  ((Ascii
-                                                                  (false,
-                                                                  true, true,
-                                                                  false,
-                                                                  false,
-                                                                  true, true,
-                                                                  false)),
-                                                                  (String
-                                                                  ((Ascii
-                                                                  (true,
-                                                                  false,
-                                                                  false,
-                                                                  true,
-                                                                  false,
-                                                                  true, true,
-                                                                  false)),
-                                                                  (String
-                                                                  ((Ascii
-                                                                  (true,
-                                                                  false,
-                                                                  true,
-                                                                  false,
-                                                                  false,
-                                                                  true, true,
-                                                                  false)),
-                                                                  (String
-                                                                  ((Ascii
-                                                                  (false,
-                                                                  true,
-                                                                  false,
-                                                                  false,
-                                                                  true, true,
-                                                                  true,
-                                                                  false)),
-                                                                  EmptyString))))))))))))))))))))))))))))))))))))))))))
-                                                                  []) :: (
-    (mkcut (S (S (S (S (S (S (S (S (S (S (S (S (S (S (S (S (S (S (S (S (S (S
-      (S (S (S (S (S (S (S (S (S (S (S (S (S (S (S (S (S (S
-      O)))))))))))))))))))))))))))))))))))))))) (S (S (S (S (S (S (S (S (S (S
-      (S (S (S (S (S (S (S (S (S (S (S (S (S (S (S (S (S (S (S (S (S (S (S (S
-      (S (S (S (S (S (S (S (S (S (S (S (S (S (S (S (S (S (S (S (S (S (S (S (S
-      (S (S (S (S (S (S (S (S (S (S (S (S (S (S (S (S
-      O))))))))))))))))))))))))))))))))))))))))))))))))))))))))))))))))))))))))))
-      (String ((Ascii (false, true, false, false, true, false, true, false)),
-      (String ((Ascii (false, false, true, false, false, false, true,
-      false)), (String ((Ascii (false, true, true, false, false, false, true,
-      false)), (String ((Ascii (true, false, false, true, false, false, true,
-      false)), (String ((Ascii (true, false, false, true, false, false, true,
-      false)), (String ((Ascii (false, false, true, false, false, true, true,
-      false)), (String ((Ascii (true, false, true, false, false, true, true,
-      false)), (String ((Ascii (false, true, true, true, false, true, true,
-      false)), (String ((Ascii (false, false, true, false, true, true, true,
-      false)), (String ((Ascii (true, false, false, true, false, true, true,
-      false)), (String ((Ascii (false, true, true, false, false, true, true,
-      false)), (String ((Ascii (true, false, false, true, false, true, true,
-      false)), (String ((Ascii (true, true, false, false, false, true, true,
-      false)), (String ((Ascii (true, false, false, false, false, true, true,
-      false)), (String ((Ascii (false, false, true, false, true, true, true,
-      false)), (String ((Ascii (true, false, false, true, false, true, true,
-      false)), (String ((Ascii (true, true, true, true, false, true, true,
-      false)), (String ((Ascii (false, true, true, true, false, true, true,
-      false)), EmptyString)))))))))))))))))))))))))))))))))))) ((String
-      ((Ascii (false, false, false, false, true, true, true, false)), (String
-      ((Ascii (true, false, false, false, false, true, true, false)), (String
-      ((Ascii (false, true, false, false, true, true, true, false)), (String
-      ((Ascii (true, true, false, false, true, true, true, false)), (String
-      ((Ascii (true, false, true, false, false, true, true, false)), (String
-      ((Ascii (true, true, false, false, true, false, true, false)), (String
-      ((Ascii (false, false, true, false, true, true, true, false)), (String
-      ((Ascii (false, true, false, false, true, true, true, false)), (String
-      ((Ascii (true, false, false, true, false, true, true, false)), (String
-      ((Ascii (false, true, true, true, false, true, true, false)), (String
-      ((Ascii (true, true, true, false, false, true, true, false)), (String
-      ((Ascii (false, true, true, false, false, false, true, false)), (String
-      ((Ascii (true, false, false, true, false, true, true, false)), (String
-      ((Ascii (true, false, true, false, false, true, true, false)), (String
-      ((Ascii (false, false, true, true, false, true, true, false)), (String
-      ((Ascii (false, false, true, false, false, true, true, false)),
-      EmptyString)))))))))))))))))))))))))))))))) :: [])) :: ((mkcut (S (S (S
-                                                                (S (S (S (S
-                                                                (S (S (S (S
-                                                                (S (S (S (S
-                                                                (S (S (S (S
-                                                                (S (S (S (S
-                                                                (S (S (S (S
-                                                                (S (S (S (S
-                                                                (S (S (S (S
-                                                                (S (S (S (S
-                                                                (S (S (S (S
-                                                                (S (S (S (S
-                                                                (S (S (S (S
-                                                                (S (S (S (S
-                                                                (S (S (S (S
-                                                                (S (S (S (S
-                                                                (S (S (S (S
-                                                                (S (S (S (S
-                                                                (S (S (S
-                                                                O))))))))))))))))))))))))))))))))))))))))))))))))))))))))))))))))))))))))))
-                                                                (S (S (S (S
-                                                                (S (S (S (S
-                                                                (S (S (S (S
-                                                                (S (S (S (S
-                                                                (S (S (S (S
-                                                                (S (S (S (S
-                                                                (S (S (S (S
-                                                                (S (S (S (S
-                                                                (S (S (S (S
-                                                                (S (S (S (S
-                                                                (S (S (S (S
-                                                                (S (S (S (S
-                                                                (S (S (S (S
-                                                                (S (S (S (S
-                                                                (S (S (S (S
-                                                                (S (S (S (S
-                                                                (S (S (S (S
-                                                                (S (S (S (S
-                                                                (S (S (S (S
-                                                                (S
-                                                                O)))))))))))))))))))))))))))))))))))))))))))))))))))))))))))))))))))))))))))))
-                                                                (String
-                                                                ((Ascii
-                                                                (false, true,
-                                                                false, false,
-                                                                true, false,
-                                                                true,
-                                                                false)),
-                                                                (String
-                                                                ((Ascii
-                                                                (false,
-                                                                false, true,
-                                                                false, false,
-                                                                false, true,
-                                                                false)),
-                                                                (String
-                                                                ((Ascii
-                                                                (false, true,
-                                                                true, false,
-                                                                false, false,
-                                                                true,
-                                                                false)),
-                                                                (String
-                                                                ((Ascii
-                                                                (true, false,
-                                                                false, true,
-                                                                false, false,
-                                                                true,
-                                                                false)),
-                                                                (String
-                                                                ((Ascii
-                                                                (false, true,
-                                                                false, false,
-                                                                false, false,
-                                                                true,
-                                                                false)),
-                                                                (String
-                                                                ((Ascii
-                                                                (false, true,
-                                                                false, false,
-                                                                true, true,
-                                                                true,
-                                                                false)),
-                                                                (String
-                                                                ((Ascii
-                                                                (true, false,
-                                                                false, false,
-                                                                false, true,
-                                                                true,
-                                                                false)),
-                                                                (String
-                                                                ((Ascii
-                                                                (false, true,
-                                                                true, true,
-                                                                false, true,
-                                                                true,
-                                                                false)),
-                                                                (String
-                                                                ((Ascii
-                                                                (true, true,
-                                                                false, false,
-                                                                false, true,
-                                                                true,
-                                                                false)),
-                                                                (String
-                                                                ((Ascii
-                                                                (false,
-                                                                false, false,
-                                                                true, false,
-                                                                true, true,
-                                                                false)),
-                                                                (String
-                                                                ((Ascii
-                                                                (true, true,
-                                                                false, false,
-                                                                false, false,
-                                                                true,
-                                                                false)),
-                                                                (String
-                                                                ((Ascii
-                                                                (true, true,
-                                                                true, true,
-                                                                false, true,
-                                                                true,
-                                                                false)),
-                                                                (String
-                                                                ((Ascii
-                                                                (true, false,
-                                                                true, false,
-                                                                true, true,
-                                                                true,
-                                                                false)),
-                                                                (String
-                                                                ((Ascii
-                                                                (false, true,
-                                                                true, true,
-                                                                false, true,
-                                                                true,
-                                                                false)),
-                                                                (String
-                                                                ((Ascii
-                                                                (false,
-                                                                false, true,
-                                                                false, true,
-                                                                true, true,
-                                                                false)),
-                                                                (String
-                                                                ((Ascii
-                                                                (false, true,
-                                                                false, false,
-                                                                true, true,
-                                                                true,
-                                                                false)),
-                                                                (String
-                                                                ((Ascii
-                                                                (true, false,
-                                                                false, true,
-                                                                true, true,
-                                                                true,
-                                                                false)),
-                                                                (String
-                                                                ((Ascii
-                                                                (true, true,
-                                                                false, false,
-                                                                false, false,
-                                                                true,
-                                                                false)),
-                                                                (String
-                                                                ((Ascii
-                                                                (true, true,
-                                                                true, true,
-                                                                false, true,
-                                                                true,
-                                                                false)),
-                                                                (String
-                                                                ((Ascii
-                                                                (false,
-                                                                false, true,
-                                                                false, false,
-                                                                true, true,
-                                                                false)),
-                                                                (String
-                                                                ((Ascii
-                                                                (true, false,
-                                                                true, false,
-                                                                false, true,
-                                                                true,
-                                                                false)),
-                                                                EmptyString))))))))))))))))))))))))))))))))))))))))))
-                                                                ((String
-                                                                ((Ascii
-                                                                (true, true,
-                                                                false, false,
-                                                                true, true,
-                                                                true,
-                                                                false)),
-                                                                (String
-                                                                ((Ascii
-                                                                (false,
-                                                                false, true,
-                                                                false, true,
-                                                                true, true,
-                                                                false)),
-                                                                (String
-                                                                ((Ascii
-                                                                (false, true,
-                                                                false, false,
-                                                                true, true,
-                                                                true,
-                                                                false)),
-                                                                (String
-                                                                ((Ascii
-                                                                (true, false,
-                                                                false, true,
-                                                                false, true,
-                                                                true,
-                                                                false)),
-                                                                (String
-                                                                ((Ascii
-                                                                (false, true,
-                                                                true, true,
-                                                                false, true,
-                                                                true,
-                                                                false)),
-                                                                (String
-                                                                ((Ascii
-                                                                (true, true,
-                                                                true, false,
-                                                                false, true,
-                                                                true,
-                                                                false)),
-                                                                (String
-                                                                ((Ascii
-                                                                (true, true,
-                                                                false, false,
-                                                                true, true,
-                                                                true,
-                                                                false)),
-                                                                (String
-                                                                ((Ascii
-                                                                (false, true,
-                                                                true, true,
-                                                                false, true,
-                                                                false,
-                                                                false)),
-                                                                (String
-                                                                ((Ascii
-                                                                (false,
-                                                                false, true,
-                                                                false, true,
-                                                                false, true,
-                                                                false)),
-                                                                (String
-                                                                ((Ascii
-                                                                (false, true,
-                                                                false, false,
-                                                                true, true,
-                                                                true,
-                                                                false)),
-                                                                (String
-                                                                ((Ascii
-                                                                (true, false,
-                                                                false, true,
-                                                                false, true,
-                                                                true,
-                                                                false)),
-                                                                (String
-                                                                ((Ascii
-                                                                (true, false,
-                                                                true, true,
-                                                                false, true,
-                                                                true,
-                                                                false)),
-                                                                (String
-                                                                ((Ascii
-                                                                (true, true,
-                                                                false, false,
-                                                                true, false,
-                                                                true,
-                                                                false)),
-                                                                (String
-                                                                ((Ascii
-                                                                (false,
-                                                                false, false,
-                                                                false, true,
-                                                                true, true,
-                                                                false)),
-                                                                (String
-                                                                ((Ascii
-                                                                (true, false,
-                                                                false, false,
-                                                                false, true,
-                                                                true,
-                                                                false)),
-                                                                (String
-                                                                ((Ascii
-                                                                (true, true,
-                                                                false, false,
-                                                                false, true,
-                                                                true,
-                                                                false)),
-                                                                (String
-                                                                ((Ascii
-                                                                (true, false,
-                                                                true, false,
-                                                                false, true,
-                                                                true,
-                                                                false)),
-                                                                EmptyString)))))))))))))))))))))))))))))))))) :: [])) :: (
-    (mkcut (S (S (S (S (S (S (S (S (S (S (S (S (S (S (S (S (S (S (S (S (S (S
-      (S (S (S (S (S (S (S (S (S (S (S (S (S (S (S (S (S (S (S (S (S (S (S (S
-      (S (S (S (S (S (S (S (S (S (S (S (S (S (S (S (S (S (S (S (S (S (S (S (S
-      (S (S (S (S (S (S (S
-      O)))))))))))))))))))))))))))))))))))))))))))))))))))))))))))))))))))))))))))))
-      (S (S (S (S (S (S (S (S (S (S (S (S (S (S (S (S (S (S (S (S (S (S (S (S
-      (S (S (S (S (S (S (S (S (S (S (S (S (S (S (S (S (S (S (S (S (S (S (S (S
-      (S (S (S (S (S (S (S (S (S (S (S (S (S (S (S (S (S (S (S (S (S (S (S (S
-      (S (S (S (S (S (S (S (S (S (S (S (S (S (S (S
-      O)))))))))))))))))))))))))))))))))))))))))))))))))))))))))))))))))))))))))))))))))))))))
-      EmptyString []) :: ((mkcut (S (S (S (S (S (S (S (S (S (S (S (S (S (S (S
-                            (S (S (S (S (S (S (S (S (S (S (S (S (S (S (S (S
-                            (S (S (S (S (S (S (S (S (S (S (S (S (S (S (S (S
-                            (S (S (S (S (S (S (S (S (S (S (S (S (S (S (S (S
-                            (S (S (S (S (S (S (S (S (S (S (S (S (S (S (S (S
-                            (S (S (S (S (S (S (S (S
-                            O)))))))))))))))))))))))))))))))))))))))))))))))))))))))))))))))))))))))))))))))))))))))
-                            (S (S (S (S (S (S (S (S (S (S (S (S (S (S (S (S
-                            (S (S (S (S (S (S (S (S (S (S (S (S (S (S (S (S
-                            (S (S (S (S (S (S (S (S (S (S (S (S (S (S (S (S
-                            (S (S (S (S (S (S (S (S (S (S (S (S (S (S (S (S
-                            (S (S (S (S (S (S (S (S (S (S (S (S (S (S (S (S
-                            (S (S (S (S (S (S (S (S (S (S (S (S (S (S
-                            O))))))))))))))))))))))))))))))))))))))))))))))))))))))))))))))))))))))))))))))))))))))))))))))
-                            (String ((Ascii (true, false, true, false, false,
-                            false, true, false)), (String ((Ascii (false,
-                            true, true, true, false, true, true, false)),
-                            (String ((Ascii (false, false, true, false, true,
-                            true, true, false)), (String ((Ascii (false,
-                            true, false, false, true, true, true, false)),
-                            (String ((Ascii (true, false, false, true, true,
-                            true, true, false)), (String ((Ascii (false,
-                            false, true, false, false, false, true, false)),
-                            (String ((Ascii (true, false, true, false, false,
-                            true, true, false)), (String ((Ascii (false,
-                            false, true, false, true, true, true, false)),
-                            (String ((Ascii (true, false, false, false,
-                            false, true, true, false)), (String ((Ascii
-                            (true, false, false, true, false, true, true,
-                            false)), (String ((Ascii (false, false, true,
-                            true, false, true, true, false)), (String ((Ascii
-                            (true, true, false, false, true, false, true,
-                            false)), (String ((Ascii (true, false, true,
-                            false, false, true, true, false)), (String
-                            ((Ascii (true, false, false, false, true, true,
-                            true, false)), (String ((Ascii (true, false,
-                            true, false, true, true, true, false)), (String
-                            ((Ascii (true, false, true, false, false, true,
-                            true, false)), (String ((Ascii (false, true,
-                            true, true, false, true, true, false)), (String
-                            ((Ascii (true, true, false, false, false, true,
-                            true, false)), (String ((Ascii (true, false,
-                            true, false, false, true, true, false)), (String
-                            ((Ascii (false, true, true, true, false, false,
-                            true, false)), (String ((Ascii (true, false,
-                            true, false, true, true, true, false)), (String
-                            ((Ascii (true, false, true, true, false, true,
-                            true, false)), (String ((Ascii (false, true,
-                            false, false, false, true, true, false)), (String
-                            ((Ascii (true, false, true, false, false, true,
-                            true, false)), (String ((Ascii (false, true,
-                            false, false, true, true, true, false)),
-                            EmptyString))))))))))))))))))))))))))))))))))))))))))))))))))
-                            ((String ((Ascii (false, false, false, false,
-                            true, true, true, false)), (String ((Ascii (true,
-                            false, false, false, false, true, true, false)),
-                            (String ((Ascii (false, true, false, false, true,
-                            true, true, false)), (String ((Ascii (true, true,
-                            false, false, true, true, true, false)), (String
-                            ((Ascii (true, false, true, false, false, true,
-                            true, false)), (String ((Ascii (false, true,
-                            true, true, false, false, true, false)), (String
-                            ((Ascii (true, false, true, false, true, true,
-                            true, false)), (String ((Ascii (true, false,
-                            true, true, false, true, true, false)), (String
-                            ((Ascii (false, true, true, false, false, false,
-                            true, false)), (String ((Ascii (true, false,
-                            false, true, false, true, true, false)), (String
-                            ((Ascii (true, false, true, false, false, true,
-                            true, false)), (String ((Ascii (false, false,
-                            true, true, false, true, true, false)), (String
-                            ((Ascii (false, false, true, false, false, true,
-                            true, false)),
-                            EmptyString)))))))))))))))))))))))))) :: [])) :: [])))))))) }
-
-(** val l_Addenda15 : layout **)
-
-let l_Addenda15 =
-  { l_name = (String ((Ascii (true, false, false, false, false, false, true,
-    false)), (String ((Ascii (false, false, true, false, false, true, true,
-    false)), (String ((Ascii (false, false, true, false, false, true, true,
-    false)), (String ((Ascii (true, false, true, false, false, true, true,
-    false)), (String ((Ascii (false, true, true, true, false, true, true,
-    false)), (String ((Ascii (false, false, true, false, false, true, true,
-    false)), (String ((Ascii (true, false, false, false, false, true, true,
-    false)), (String ((Ascii (true, false, false, false, true, true, false,
-    false)), (String ((Ascii (true, false, true, false, true, true, false,
-    false)), EmptyString)))))))))))))))))); l_ix = IRune; l_segs = ((SLit
-    ((Npos (XI (XI (XI (XO (XI XH)))))) :: [])) :: ((SRaw (String ((Ascii
-    (false, false, true, false, true, false, true, false)), (String ((Ascii
-    (true, false, false, true, true, true, true, false)), (String ((Ascii
-    (false, false, false, false, true, true, true, false)), (String ((Ascii
-    (true, false, true, false, false, true, true, false)), (String ((Ascii
-    (true, true, false, false, false, false, true, false)), (String ((Ascii
-    (true, true, true, true, false, true, true, false)), (String ((Ascii
-    (false, false, true, false, false, true, true, false)), (String ((Ascii
-    (true, false, true, false, false, true, true, false)),
-    EmptyString))))))))))))))))) :: ((SAlpha ((String ((Ascii (false, true,
-    false, false, true, false, true, false)), (String ((Ascii (true, false,
-    true, false, false, true, true, false)), (String ((Ascii (true, true,
-    false, false, false, true, true, false)), (String ((Ascii (true, false,
-    true, false, false, true, true, false)), (String ((Ascii (true, false,
-    false, true, false, true, true, false)), (String ((Ascii (false, true,
-    true, false, true, true, true, false)), (String ((Ascii (true, false,
-    true, false, false, true, true, false)), (String ((Ascii (false, true,
-    false, false, true, true, true, false)), (String ((Ascii (true, false,
-    false, true, false, false, true, false)), (String ((Ascii (false, false,
-    true, false, false, false, true, false)), (String ((Ascii (false, true,
-    true, true, false, false, true, false)), (String ((Ascii (true, false,
-    true, false, true, true, true, false)), (String ((Ascii (true, false,
-    true, true, false, true, true, false)), (String ((Ascii (false, true,
-    false, false, false, true, true, false)), (String ((Ascii (true, false,
-    true, false, false, true, true, false)), (String ((Ascii (false, true,
-    false, false, true, true, true, false)),
-    EmptyString)))))))))))))))))))))))))))))))), (S (S (S (S (S (S (S (S (S
-    (S (S (S (S (S (S O))))))))))))))))) :: ((SAlpha ((String ((Ascii (false,
-    true, false, false, true, false, true, false)), (String ((Ascii (true,
-    false, true, false, false, true, true, false)), (String ((Ascii (true,
-    true, false, false, false, true, true, false)), (String ((Ascii (true,
-    false, true, false, false, true, true, false)), (String ((Ascii (true,
-    false, false, true, false, true, true, false)), (String ((Ascii (false,
-    true, true, false, true, true, true, false)), (String ((Ascii (true,
-    false, true, false, false, true, true, false)), (String ((Ascii (false,
-    true, false, false, true, true, true, false)), (String ((Ascii (true,
-    true, false, false, true, false, true, false)), (String ((Ascii (false,
-    false, true, false, true, true, true, false)), (String ((Ascii (false,
-    true, false, false, true, true, true, false)), (String ((Ascii (true,
-    false, true, false, false, true, true, false)), (String ((Ascii (true,
-    false, true, false, false, true, true, false)), (String ((Ascii (false,
-    false, true, false, true, true, true, false)), (String ((Ascii (true,
-    false, false, false, false, false, true, false)), (String ((Ascii (false,
-    false, true, false, false, true, true, false)), (String ((Ascii (false,
-    false, true, false, false, true, true, false)), (String ((Ascii (false,
-    true, false, false, true, true, true, false)), (String ((Ascii (true,
-    false, true, false, false, true, true, false)), (String ((Ascii (true,
-    true, false, false, true, true, true, false)), (String ((Ascii (true,
-    true, false, false, true, true, true, false)),
-    EmptyString)))))))))))))))))))))))))))))))))))))))))), (S (S (S (S (S (S
-    (S (S (S (S (S (S (S (S (S (S (S (S (S (S (S (S (S (S (S (S (S (S (S (S
-    (S (S (S (S (S O))))))))))))))))))))))))))))))))))))) :: ((SLit ((Npos
-    (XO (XO (XO (XO (XO XH)))))) :: ((Npos (XO (XO (XO (XO (XO
-    XH)))))) :: ((Npos (XO (XO (XO (XO (XO XH)))))) :: ((Npos (XO (XO (XO (XO
-    (XO XH)))))) :: ((Npos (XO (XO (XO (XO (XO XH)))))) :: ((Npos (XO (XO (XO
-    (XO (XO XH)))))) :: ((Npos (XO (XO (XO (XO (XO XH)))))) :: ((Npos (XO (XO
-    (XO (XO (XO XH)))))) :: ((Npos (XO (XO (XO (XO (XO XH)))))) :: ((Npos (XO
-    (XO (XO (XO (XO XH)))))) :: ((Npos (XO (XO (XO (XO (XO XH)))))) :: ((Npos
-    (XO (XO (XO (XO (XO XH)))))) :: ((Npos (XO (XO (XO (XO (XO
-    XH)))))) :: ((Npos (XO (XO (XO (XO (XO XH)))))) :: ((Npos (XO (XO (XO (XO
-    (XO XH)))))) :: ((Npos (XO (XO (XO (XO (XO XH)))))) :: ((Npos (XO (XO (XO
-    (XO (XO XH)))))) :: ((Npos (XO (XO (XO (XO (XO XH)))))) :: ((Npos (XO (XO
-    (XO (XO (XO XH)))))) :: ((Npos (XO (XO (XO (XO (XO XH)))))) :: ((Npos (XO
-    (XO (XO (XO (XO XH)))))) :: ((Npos (XO (XO (XO (XO (XO XH)))))) :: ((Npos
-    (XO (XO (XO (XO (XO XH)))))) :: ((Npos (XO (XO (XO (XO (XO
-    XH)))))) :: ((Npos (XO (XO (XO (XO (XO XH)))))) :: ((Npos (XO (XO (XO (XO
-    (XO XH)))))) :: ((Npos (XO (XO (XO (XO (XO XH)))))) :: ((Npos (XO (XO (XO
-    (XO (XO XH)))))) :: ((Npos (XO (XO (XO (XO (XO XH)))))) :: ((Npos (XO (XO
-    (XO (XO (XO XH)))))) :: ((Npos (XO (XO (XO (XO (XO XH)))))) :: ((Npos (XO
-    (XO (XO (XO (XO XH)))))) :: ((Npos (XO (XO (XO (XO (XO XH)))))) :: ((Npos
-    (XO (XO (XO (XO (XO
-    XH)))))) :: []))))))))))))))))))))))))))))))))))) :: ((SNum ((String
-    ((Ascii (true, false, true, false, false, false, true, false)), (String
-    ((Ascii (false, true, true, true, false, true, true, false)), (String
-    ((Ascii (false, false, true, false, true, true, true, false)), (String
-    ((Ascii (false, true, false, false, true, true, true, false)), (String
-    ((Ascii (true, false, false, true, true, true, true, false)), (String
-    ((Ascii (false, false, true, false, false, false, true, false)), (String
-    ((Ascii (true, false, true, false, false, true, true, false)), (String
-    ((Ascii (false, false, true, false, true, true, true, false)), (String
-    ((Ascii (true, false, false, false, false, true, true, false)), (String
-    ((Ascii (true, false, false, true, false, true, true, false)), (String
-    ((Ascii (false, false, true, true, false, true, true, false)), (String
-    ((Ascii (true, true, false, false, true, false, true, false)), (String
-    ((Ascii (true, false, true, false, false, true, true, false)), (String
-    ((Ascii (true, false, false, false, true, true, true, false)), (String
-    ((Ascii (true, false, true, false, true, true, true, false)), (String
-    ((Ascii (true, false, true, false, false, true, true, false)), (String
-    ((Ascii (false, true, true, true, false, true, true, false)), (String
-    ((Ascii (true, true, false, false, false, true, true, false)), (String
-    ((Ascii (true, false, true, false, false, true, true, false)), (String
-    ((Ascii (false, true, true, true, false, false, true, false)), (String
-    ((Ascii (true, false, true, false, true, true, true, false)), (String
-    ((Ascii (true, false, true, true, false, true, true, false)), (String
-    ((Ascii (false, true, false, false, false, true, true, false)), (String
-    ((Ascii (true, false, true, false, false, true, true, false)), (String
-    ((Ascii (false, true, false, false, true, true, true, false)),
-    EmptyString)))))))))))))))))))))))))))))))))))))))))))))))))), (S (S (S
-    (S (S (S (S O))))))))) :: [])))))); l_cuts =
-    ((mkcut O (S O) EmptyString []) :: ((mkcut (S O) (S (S (S O))) (String
-                                          ((Ascii (false, false, true, false,
-                                          true, false, true, false)), (String
-                                          ((Ascii (true, false, false, true,
-                                          true, true, true, false)), (String
-                                          ((Ascii (false, false, false,
-                                          false, true, true, true, false)),
-                                          (String ((Ascii (true, false, true,
-                                          false, false, true, true, false)),
-                                          (String ((Ascii (true, true, false,
-                                          false, false, false, true, false)),
-                                          (String ((Ascii (true, true, true,
-                                          true, false, true, true, false)),
-                                          (String ((Ascii (false, false,
-                                          true, false, false, true, true,
-                                          false)), (String ((Ascii (true,
-                                          false, true, false, false, true,
-                                          true, false)),
-                                          EmptyString)))))))))))))))) []) :: (
-    (mkcut (S (S (S O))) (S (S (S (S (S (S (S (S (S (S (S (S (S (S (S (S (S
-      (S O)))))))))))))))))) (String ((Ascii (false, true, false, false,
-      true, false, true, false)), (String ((Ascii (true, false, true, false,
-      false, true, true, false)), (String ((Ascii (true, true, false, false,
-      false, true, true, false)), (String ((Ascii (true, false, true, false,
-      false, true, true, false)), (String ((Ascii (true, false, false, true,
-      false, true, true, false)), (String ((Ascii (false, true, true, false,
-      true, true, true, false)), (String ((Ascii (true, false, true, false,
-      false, true, true, false)), (String ((Ascii (false, true, false, false,
-      true, true, true, false)), (String ((Ascii (true, false, false, true,
-      false, false, true, false)), (String ((Ascii (false, false, true,
-      false, false, false, true, false)), (String ((Ascii (false, true, true,
-      true, false, false, true, false)), (String ((Ascii (true, false, true,
-      false, true, true, true, false)), (String ((Ascii (true, false, true,
-      true, false, true, true, false)), (String ((Ascii (false, true, false,
-      false, false, true, true, false)), (String ((Ascii (true, false, true,
-      false, false, true, true, false)), (String ((Ascii (false, true, false,
-      false, true, true, true, false)),
-      EmptyString)))))))))))))))))))))))))))))))) ((String ((Ascii (false,
-      false, false, false, true, true, true, false)), (String ((Ascii (true,
-      false, false, false, false, true, true, false)), (String ((Ascii
-      (false, true, false, false, true, true, true, false)), (String ((Ascii
-      (true, true, false, false, true, true, true, false)), (String ((Ascii
-      (true, false, true, false, false, true, true, false)), (String ((Ascii
-      (true, true, false, false, true, false, true, false)), (String ((Ascii
-      (false, false, true, false, true, true, true, false)), (String ((Ascii
-      (false, true, false, false, true, true, true, false)), (String ((Ascii
-      (true, false, false, true, false, true, true, false)), (String ((Ascii
-      (false, true, true, true, false, true, true, false)), (String ((Ascii
-      (true, true, true, false, false, true, true, false)), (String ((Ascii
-      (false, true, true, false, false, false, true, false)), (String ((Ascii
-      (true, false, false, true, false, true, true, false)), (String ((Ascii
-      (true, false, true, false, false, true, true, false)), (String ((Ascii
-      (false, false, true, true, false, true, true, false)), (String ((Ascii
-      (false, false, true, false, false, true, true, false)),
-      EmptyString)))))))))))))))))))))))))))))))) :: [])) :: ((mkcut (S (S (S
-                                                                (S (S (S (S
-                                                                (S (S (S (S
-                                                                (S (S (S (S
-                                                                (S (S (S
-                                                                O))))))))))))))))))
-                                                                (S (S (S (S
-                                                                (S (S (S (S
-                                                                (S (S (S (S
-                                                                (S (S (S (S
-                                                                (S (S (S (S
-                                                                (S (S (S (S
-                                                                (S (S (S (S
-                                                                (S (S (S (S
-                                                                (S (S (S (S
-                                                                (S (S (S (S
-                                                                (S (S (S (S
-                                                                (S (S (S (S
-                                                                (S (S (S (S
-                                                                (S
-                                                                O)))))))))))))))))))))))))))))))))))))))))))))))))))))
-                                                                (String
-                                                                ((Ascii
-                                                                (false, true,
-                                                                false, false,
-                                                                true, false,
-                                                                true,
-                                                                false)),
-                                                                (String
-                                                                ((Ascii
-                                                                (true, false,
-                                                                true, false,
-                                                                false, true,
-                                                                true,
-                                                                false)),
-                                                                (String
-                                                                ((Ascii
-                                                                (true, true,
-                                                                false, false,
-                                                                false, true,
-                                                                true,
-                                                                false)),
-                                                                (String
-                                                                ((Ascii
-                                                                (true, false,
-                                                                true, false,
-                                                                false, true,
-                                                                true,
-                                                                false)),
-                                                                (String
-                                                                ((Ascii
-                                                                (true, false,
-                                                                false, true,
-                                                                false, true,
-                                                                true,
-                                                                false)),
-                                                                (String
-                                                                ((Ascii
-                                                                (false, true,
-                                                                true, false,
-                                                                true, true,
-                                                                true,
-                                                                false)),
-                                                                (String
-                                                                ((Ascii
-                                                                (true, false,
-                                                                true, false,
-                                                                false, true,
-                                                                true,
-                                                                false)),
-                                                                (String
-                                                                ((Ascii
-                                                                (false, true,
-                                                                false, false,
-                                                                true, true,
-                                                                true,
-                                                                false)),
-                                                                (String
-                                                                ((Ascii
-                                                                (true, true,
-                                                                false, false,
-                                                                true, false,
-                                                                true,
-                                                                false)),
-                                                                (String
-                                                                ((Ascii
-                                                                (false,
-                                                                false, true,
-                                                                false, true,
-                                                                true, true,
-                                                                false)),
-                                                                (String
-                                                                ((Ascii
-                                                                (false, true,
-                                                                false, false,
-                                                                true, true,
-                                                                true,
-                                                                false)),
-                                                                (String
-                                                                ((Ascii
-                                                                (true, false,
-                                                                true, false,
-                                                                false, true,
-                                                                true,
-                                                                false)),
-                                                                (String
-                                                                ((Ascii
-                                                                (true, false,
-                                                                true, false,
-                                                                false, true,
-                                                                true,
-                                                                false)),
-                                                                (String
-                                                                ((Ascii
-                                                                (false,
-                                                                false, true,
-                                                                false, true,
-                                                                true, true,
-                                                                false)),
-                                                                (String
-                                                                ((Ascii
-                                                                (true, false,
-                                                                false, false,
-                                                                false, false,
-                                                                true,
-                                                                false)),
-                                                                (String
-                                                                ((Ascii
-                                                                (false,
-                                                                false, true,
-                                                                false, false,
-                                                                true, true,
-                                                                false)),
-                                                                (String
-                                                                ((Ascii
-                                                                (false,
-                                                                false, true,
-                                                                false, false,
-                                                                true, true,
-                                                                false)),
-                                                                (String
-                                                                ((Ascii
-                                                                (false, true,
-                                                                false, false,
-                                                                true, true,
-                                                                true,
-                                                                false)),
-                                                                (String
-                                                                ((Ascii
-                                                                (true, false,
-                                                                true, false,
-                                                                false, true,
-                                                                true,
-                                                                false)),
-                                                                (String
-                                                                ((Ascii
-                                                                (true, true,
-                                                                false, false,
-                                                                true, true,
-                                                                true,
-                                                                false)),
-                                                                (String
-                                                                ((Ascii
-                                                                (true, true,
-                                                                false, false,
-                                                                true, true,
-                                                                true,
-                                                                false)),
-                                                                EmptyString))))))))))))))))))))))))))))))))))))))))))
-                                                                ((String
-                                                                ((Ascii
-                                                                (true, true,
-                                                                false, false,
-                                                                true, true,
-                                                                true,
-                                                                false)),
-                                                                (String
-                                                                ((Ascii
-                                                                (false,
-                                                                false, true,
-                                                                false, true,
-                                                                true, true,
-                                                                false)),
-                                                                (String
-                                                                ((Ascii
-                                                                (false, true,
-                                                                false, false,
-                                                                true, true,
-                                                                true,
-                                                                false)),
-                                                                (String
-                                                                ((Ascii
-                                                                (true, false,
-                                                                false, true,
-                                                                false, true,
-                                                                true,
-                                                                false)),
-                                                                (String
-                                                                ((Ascii
-                                                                (false, true,
-                                                                true, true,
-                                                                false, true,
-                                                                true,
-                                                                false)),
-                                                                (String
-                                                                ((Ascii
-                                                                (true, true,
-                                                                true, false,
-                                                                false, true,
-                                                                true,
-                                                                false)),
-                                                                (String
-                                                                ((Ascii
-                                                                (true, true,
-                                                                false, false,
-                                                                true, true,
-                                                                true,
-                                                                false)),
-                                                                (String
-                                                                ((Ascii
-                                                                (false, true,
-                                                                true, true,
-                                                                false, true,
-                                                                false,
-                                                                false)),
-                                                                (String
-                                                                ((Ascii
-                                                                (false,
-                                                                false, true,
-                                                                false, true,
-                                                                false, true,
-                                                                false)),
-                                                                (String
-                                                                ((Ascii
-                                                                (false, true,
-                                                                false, false,
-                                                                true, true,
-                                                                true,
-                                                                false)),
-                                                                (String
-                                                                ((Ascii
-                                                                (true, false,
-                                                                false, true,
-                                                                false, true,
-                                                                true,
-                                                                false)),
-                                                                (String
-                                                                ((Ascii
-                                                                (true, false,
-                                                                true, true,
-                                                                false, true,
-                                                                true,
-                                                                false)),
-                                                                (String
-                                                                ((Ascii
-                                                                (true, true,
-                                                                false, false,
-                                                                true, false,
-                                                                true,
-                                                                false)),
-                                                                (String
-                                                                ((Ascii
-                                                                (false,
-                                                                false, false,
-                                                                false, true,
-                                                                true, true,
-                                                                false)),
-                                                                (String
-                                                                ((Ascii
-                                                                (true, false,
-                                                                false, false,
-                                                                false, true,
-                                                                true,
-                                                                false)),
-                                                                (String
-                                                                ((Ascii
-                                                                (true, true,
-                                                                false, false,
-                                                                false, true,
-                                                                true,
-                                                                false)),
-                                                                (String
-                                                                ((Ascii
-                                                                (true, false,
-                                                                true, false,
-                                                                false, true,
-                                                                true,
-                                                                false)),
-                                                                EmptyString)))))))))))))))))))))))))))))))))) :: [])) :: (
-    (mkcut (S (S (S (S (S (S (S (S (S (S (S (S (S (S (S (S (S (S (S (S (S (S
-      (S (S (S (S (S (S (S (S (S (S (S (S (S (S (S (S (S (S (S (S (S (S (S (S
-      (S (S (S (S (S (S (S
-      O))))))))))))))))))))))))))))))))))))))))))))))))))))) (S (S (S (S (S
-      (S (S (S (S (S (S (S (S (S (S (S (S (S (S (S (S (S (S (S (S (S (S (S (S
-      (S (S (S (S (S (S (S (S (S (S (S (S (S (S (S (S (S (S (S (S (S (S (S (S
-      (S (S (S (S (S (S (S (S (S (S (S (S (S (S (S (S (S (S (S (S (S (S (S (S
-      (S (S (S (S (S (S (S (S (S (S
-      O)))))))))))))))))))))))))))))))))))))))))))))))))))))))))))))))))))))))))))))))))))))))
-      EmptyString []) :: ((mkcut (S (S (S (S (S (S (S (S (S (S (S (S (S (S (S
-                            (S (S (S (S (S (S (S (S (S (S (S (S (S (S (S (S
-                            (S (S (S (S (S (S (S (S (S (S (S (S (S (S (S (S
-                            (S (S (S (S (S (S (S (S (S (S (S (S (S (S (S (S
-                            (S (S (S (S (S (S (S (S (S (S (S (S (S (S (S (S
-                            (S (S (S (S (S (S (S (S
-                            O)))))))))))))))))))))))))))))))))))))))))))))))))))))))))))))))))))))))))))))))))))))))
-                            (S (S (S (S (S (S (S (S (S (S (S (S (S (S (S (S
-                            (S (S (S (S (S (S (S (S (S (S (S (S (S (S (S (S
-                            (S (S (S (S (S (S (S (S (S (S (S (S (S (S (S (S
-                            (S (S (S (S (S (S (S (S (S (S (S (S (S (S (S (S
-                            (S (S (S (S (S (S (S (S (S (S (S (S (S (S (S (S
-                            (S (S (S (S (S (S (S (S (S (S (S (S (S (S
-                            O))))))))))))))))))))))))))))))))))))))))))))))))))))))))))))))))))))))))))))))))))))))))))))))
-                            (String ((Ascii (true, false, true, false, false,
-                            false, true, false)), (String ((Ascii (false,
-                            true, true, true, false, true, true, false)),
-                            (String ((Ascii (false, false, true, false, true,
-                            true, true, false)), (String ((Ascii (false,
-                            true, false, false, true, true, true, false)),
-                            (String ((Ascii (true, false, false, true, true,
-                            true, true, false)), (String ((Ascii (false,
-                            false, true, false, false, false, true, false)),
-                            (String ((Ascii (true, false, true, false, false,
-                            true, true, false)), (String ((Ascii (false,
-                            false, true, false, true, true, true, false)),
-                            (String ((Ascii (true, false, false, false,
-                            false, true, true, false)), (String ((Ascii
-                            (true, false, false, true, false, true, true,
-                            false)), (String ((Ascii (false, false, true,
-                            true, false, true, true, false)), (String ((Ascii
-                            (true, true, false, false, true, false, true,
-                            false)), (String ((Ascii (true, false, true,
-                            false, false, true, true, false)), (String
-                            ((Ascii (true, false, false, false, true, true,
-                            true, false)), (String ((Ascii (true, false,
-                            true, false, true, true, true, false)), (String
-                            ((Ascii (true, false, true, false, false, true,
-                            true, false)), (String ((Ascii (false, true,
-                            true, true, false, true, true, false)), (String
-                            ((Ascii (true, true, false, false, false, true,
-                            true, false)), (String ((Ascii (true, false,
-                            true, false, false, true, true, false)), (String
-                            ((Ascii (false, true, true, true, false, false,
-                            true, false)), (String ((Ascii (true, false,
-                            true, false, true, true, true, false)), (String
-                            ((Ascii (true, false, true, true, false, true,
-                            true, false)), (String ((Ascii (false, true,
-                            false, false, false, true, true, false)), (String
-                            ((Ascii (true, false, true, false, false, true,
-                            true, false)), (String ((Ascii (false, true,
-                            false, false, true, true, true, false)),
-                            EmptyString))))))))))))))))))))))))))))))))))))))))))))))))))
-                            ((String ((Ascii (false, false, false, false,
-                            true, true, true, false)), (String ((Ascii (true,
-                            false, false, false, false, true, true, false)),
-                            (String ((Ascii (false, true, false, false, true,
-                            true, true, false)), (String ((Ascii (true, true,
-                            false, false, true, true, true, false)), (String
-                            ((Ascii (true, false, true, false, false, true,
-                            true, false)), (String ((Ascii (false, true,
-                            true, true, false, false, true, false)), (String
-                            ((Ascii (true, false, true, false, true, true,
-                            true, false)), (String ((Ascii (true, false,
-                            true, true, false, true, true, false)), (String
-                            ((Ascii (false, true, true, false, false, false,
-                            true, false)), (String ((Ascii (true, false,
-                            false, true, false, true, true, false)), (String
-                            ((Ascii (true, false, true, false, false, true,
-                            true, false)), (String ((Ascii (false, false,
-                            true, true, false, true, true, false)), (String
-                            ((Ascii (false, false, true, false, false, true,
-                            true, false)),
-                            EmptyString)))))))))))))))))))))))))) :: [])) :: [])))))) }
-
-(** val l_Addenda16 : layout **)
-
-let l_Addenda16 =
-  { l_name = (String ((Ascii (true, false, false, false, false, false, true,
-    false)), (String ((Ascii (false, false, true, false, false, true, true,
-    false)), (String ((Ascii (false, false, true, false, false, true, true,
-    false)), (String ((Ascii (true, false, true, false, false, true, true,
-    false)), (String ((Ascii (false, true, true, true, false, true, true,
-    false)), (String ((Ascii (false, false, true, false, false, true, true,
-    false)), (String ((Ascii (true, false, false, false, false, true, true,
-    false)), (String ((Ascii (true, false, false, false, true, true, false,
-    false)), (String ((Ascii (false, true, true, false, true, true, false,
-    false)), EmptyString)))))))))))))))))); l_ix = IRune; l_segs = ((SLit
-    ((Npos (XI (XI (XI (XO (XI XH)))))) :: [])) :: ((SRaw (String ((Ascii
-    (false, false, true, false, true, false, true, false)), (String ((Ascii
-    (true, false, false, true, true, true, true, false)), (String ((Ascii
-    (false, false, false, false, true, true, true, false)), (String ((Ascii
-    (true, false, true, false, false, true, true, false)), (String ((Ascii
-    (true, true, false, false, false, false, true, false)), (String ((Ascii
-    (true, true, true, true, false, true, true, false)), (String ((Ascii
-    (false, false, true, false, false, true, true, false)), (String ((Ascii
-    (true, false, true, false, false, true, true, false)),
-    EmptyString))))))))))))))))) :: ((SAlpha ((String ((Ascii (false, true,
-    false, false, true, false, true, false)), (String ((Ascii (true, false,
-    true, false, false, true, true, false)), (String ((Ascii (true, true,
-    false, false, false, true, true, false)), (String ((Ascii (true, false,
-    true, false, false, true, true, false)), (String ((Ascii (true, false,
-    false, true, false, true, true, false)), (String ((Ascii (false, true,
-    true, false, true, true, true, false)), (String ((Ascii (true, false,
-    true, false, false, true, true, false)), (String ((Ascii (false, true,
-    false, false, true, true, true, false)), (String ((Ascii (true, true,
-    false, false, false, false, true, false)), (String ((Ascii (true, false,
-    false, true, false, true, true, false)), (String ((Ascii (false, false,
-    true, false, true, true, true, false)), (String ((Ascii (true, false,
-    false, true, true, true, true, false)), (String ((Ascii (true, true,
-    false, false, true, false, true, false)), (String ((Ascii (false, false,
-    true, false, true, true, true, false)), (String ((Ascii (true, false,
-    false, false, false, true, true, false)), (String ((Ascii (false, false,
-    true, false, true, true, true, false)), (String ((Ascii (true, false,
-    true, false, false, true, true, false)), (String ((Ascii (false, false,
-    false, false, true, false, true, false)), (String ((Ascii (false, true,
-    false, false, true, true, true, false)), (String ((Ascii (true, true,
-    true, true, false, true, true, false)), (String ((Ascii (false, true,
-    true, false, true, true, true, false)), (String ((Ascii (true, false,
-    false, true, false, true, true, false)), (String ((Ascii (false, true,
-    true, true, false, true, true, false)), (String ((Ascii (true, true,
-    false, false, false, true, true, false)), (String ((Ascii (true, false,
-    true, false, false, true, true, false)),
-    EmptyString)))))))))))))))))))))))))))))))))))))))))))))))))), (S (S (S
-    (S (S (S (S (S (S (S (S (S (S (S (S (S (S (S (S (S (S (S (S (S (S (S (S
-    (S (S (S (S (S (S (S (S
-    O))))))))))))))))))))))))))))))))))))) :: ((SAlpha ((String ((Ascii
-    (false, true, false, false, true, false, true, false)), (String ((Ascii
-    (true, false, true, false, false, true, true, false)), (String ((Ascii
-    (true, true, false, false, false, true, true, false)), (String ((Ascii
-    (true, false, true, false, false, true, true, false)), (String ((Ascii
-    (true, false, false, true, false, true, true, false)), (String ((Ascii
-    (false, true, true, false, true, true, true, false)), (String ((Ascii
-    (true, false, true, false, false, true, true, false)), (String ((Ascii
-    (false, true, false, false, true, true, true, false)), (String ((Ascii
-    (true, true, false, false, false, false, true, false)), (String ((Ascii
-    (true, true, true, true, false, true, true, false)), (String ((Ascii
-    (true, false, true, false, true, true, true, false)), (String ((Ascii
-    (false, true, true, true, false, true, true, false)), (String ((Ascii
-    (false, false, true, false, true, true, true, false)), (String ((Ascii
-    (false, true, false, false, true, true, true, false)), (String ((Ascii
-    (true, false, false, true, true, true, true, false)), (String ((Ascii
-    (false, false, false, false, true, false, true, false)), (String ((Ascii
-    (true, true, true, true, false, true, true, false)), (String ((Ascii
-    (true, true, false, false, true, true, true, false)), (String ((Ascii
-    (false, false, true, false, true, true, true, false)), (String ((Ascii
-    (true, false, false, false, false, true, true, false)), (String ((Ascii
-    (false, false, true, true, false, true, true, false)), (String ((Ascii
-    (true, true, false, false, false, false, true, false)), (String ((Ascii
-    (true, true, true, true, false, true, true, false)), (String ((Ascii
-    (false, false, true, false, false, true, true, false)), (String ((Ascii
-    (true, false, true, false, false, true, true, false)),
-    EmptyString)))))))))))))))))))))))))))))))))))))))))))))))))), (S (S (S
-    (S (S (S (S (S (S (S (S (S (S (S (S (S (S (S (S (S (S (S (S (S (S (S (S
-    (S (S (S (S (S (S (S (S O))))))))))))))))))))))))))))))))))))) :: ((SLit
-    ((Npos (XO (XO (XO (XO (XO XH)))))) :: ((Npos (XO (XO (XO (XO (XO
-    XH)))))) :: ((Npos (XO (XO (XO (XO (XO XH)))))) :: ((Npos (XO (XO (XO (XO
-    (XO XH)))))) :: ((Npos (XO (XO (XO (XO (XO XH)))))) :: ((Npos (XO (XO (XO
-    (XO (XO XH)))))) :: ((Npos (XO (XO (XO (XO (XO XH)))))) :: ((Npos (XO (XO
-    (XO (XO (XO XH)))))) :: ((Npos (XO (XO (XO (XO (XO XH)))))) :: ((Npos (XO
-    (XO (XO (XO (XO XH)))))) :: ((Npos (XO (XO (XO (XO (XO XH)))))) :: ((Npos
-    (XO (XO (XO (XO (XO XH)))))) :: ((Npos (XO (XO (XO (XO (XO
-    XH)))))) :: ((Npos (XO (XO (XO (XO (XO
-    XH)))))) :: []))))))))))))))) :: ((SNum ((String ((Ascii (true, false,
-    true, false, false, false, true, false)), (String ((Ascii (false, true,
-    true, true, false, true, true, false)), (String ((Ascii (false, false,
-    true, false, true, true, true, false)), (String ((Ascii (false, true,
-    false, false, true, true, true, false)), (String ((Ascii (true, false,
-    false, true, true, true, true, false)), (String ((Ascii (false, false,
-    true, false, false, false, true, false)), (String ((Ascii (true, false,
-    true, false, false, true, true, false)), (String ((Ascii (false, false,
-    true, false, true, true, true, false)), (String ((Ascii (true, false,
-    false, false, false, true, true, false)), (String ((Ascii (true, false,
-    false, true, false, true, true, false)), (String ((Ascii (false, false,
-    true, true, false, true, true, false)), (String ((Ascii (true, true,
-    false, false, true, false, true, false)), (String ((Ascii (true, false,
-    true, false, false, true, true, false)), (String ((Ascii (true, false,
-    false, false, true, true, true, false)), (String ((Ascii (true, false,
-    true, false, true, true, true, false)), (String ((Ascii (true, false,
-    true, false, false, true, true, false)), (String ((Ascii (false, true,
-    true, true, false, true, true, false)), (String ((Ascii (true, true,
-    false, false, false, true, true, false)), (String ((Ascii (true, false,
-    true, false, false, true, true, false)), (String ((Ascii (false, true,
-    true, true, false, false, true, false)), (String ((Ascii (true, false,
-    true, false, true, true, true, false)), (String ((Ascii (true, false,
-    true, true, false, true, true, false)), (String ((Ascii (false, true,
-    false, false, false, true, true, false)), (String ((Ascii (true, false,
-    true, false, false, true, true, false)), (String ((Ascii (false, true,
-    false, false, true, true, true, false)),
-    EmptyString)))))))))))))))))))))))))))))))))))))))))))))))))), (S (S (S
-    (S (S (S (S O))))))))) :: [])))))); l_cuts =
-    ((mkcut O (S O) EmptyString []) :: ((mkcut (S O) (S (S (S O))) (String
-                                          ((Ascii (false, false, true, false,
-                                          true, false, true, false)), (String
-                                          ((Ascii (true, false, false, true,
-                                          true, true, true, false)), (String
-                                          ((Ascii (false, false, false,
-                                          false, true, true, true, false)),
-                                          (String ((Ascii (true, false, true,
-                                          false, false, true, true, false)),
-                                          (String ((Ascii (true, true, false,
-                                          false, false, false, true, false)),
-                                          (String ((Ascii (true, true, true,
-                                          true, false, true, true, false)),
-                                          (String ((Ascii (false, false,
-                                          true, false, false, true, true,
-                                          false)), (String ((Ascii (true,
-                                          false, true, false, false, true,
-                                          true, false)),
-                                          EmptyString)))))))))))))))) []) :: (
-    (mkcut (S (S (S O))) (S (S (S (S (S (S (S (S (S (S (S (S (S (S (S (S (S
-      (S (S (S (S (S (S (S (S (S (S (S (S (S (S (S (S (S (S (S (S (S
-      O)))))))))))))))))))))))))))))))))))))) (String ((Ascii (false, true,
-      false, false, true, false, true, false)), (String ((Ascii (true, false,
-      true, false, false, true, true, false)), (String ((Ascii (true, true,
-      false, false, false, true, true, false)), (String ((Ascii (true, false,
-      true, false, false, true, true, false)), (String ((Ascii (true, false,
-      false, true, false, true, true, false)), (String ((Ascii (false, true,
-      true, false, true, true, true, false)), (String ((Ascii (true, false,
-      true, false, false, true, true, false)), (String ((Ascii (false, true,
-      false, false, true, true, true, false)), (String ((Ascii (true, true,
-      false, false, false, false, true, false)), (String ((Ascii (true,
-      false, false, true, false, true, true, false)), (String ((Ascii (false,
-      false, true, false, true, true, true, false)), (String ((Ascii (true,
-      false, false, true, true, true, true, false)), (String ((Ascii (true,
-      true, false, false, true, false, true, false)), (String ((Ascii (false,
-      false, true, false, true, true, true, false)), (String ((Ascii (true,
-      false, false, false, false, true, true, false)), (String ((Ascii
-      (false, false, true, false, true, true, true, false)), (String ((Ascii
-      (true, false, true, false, false, true, true, false)), (String ((Ascii
-      (false, false, false, false, true, false, true, false)), (String
-      ((Ascii (false, true, false, false, true, true, true, false)), (String
-      ((Ascii (true, true, true, true, false, true, true, false)), (String
-      ((Ascii (false, true, true, false, true, true, true, false)), (String
-      ((Ascii (true, false, false, true, false, true, true, false)), (String
-      ((Ascii (false, true, true, true, false, true, true, false)), (String
-      ((Ascii (true, true, false, false, false, true, true, false)), (String
-      ((Ascii (true, false, true, false, false, true, true, false)),
-      EmptyString)))))))))))))))))))))))))))))))))))))))))))))))))) ((String
-      ((Ascii (true, true, false, false, true, true, true, false)), (String
-      ((Ascii (false, false, true, false, true, true, true, false)), (String
-      ((Ascii (false, true, false, false, true, true, true, false)), (String
-      ((Ascii (true, false, false, true, false, true, true, false)), (String
-      ((Ascii (false, true, true, true, false, true, true, false)), (String
-      ((Ascii (true, true, true, false, false, true, true, false)), (String
-      ((Ascii (true, true, false, false, true, true, true, false)), (String
-      ((Ascii (false, true, true, true, false, true, false, false)), (String
-      ((Ascii (false, false, true, false, true, false, true, false)), (String
-      ((Ascii (false, true, false, false, true, true, true, false)), (String
-      ((Ascii (true, false, false, true, false, true, true, false)), (String
-      ((Ascii (true, false, true, true, false, true, true, false)), (String
-      ((Ascii (true, true, false, false, true, false, true, false)), (String
-      ((Ascii (false, false, false, false, true, true, true, false)), (String
-      ((Ascii (true, false, false, false, false, true, true, false)), (String
-      ((Ascii (true, true, false, false, false, true, true, false)), (String
-      ((Ascii (true, false, true, false, false, true, true, false)),
-      EmptyString)))))))))))))))))))))))))))))))))) :: [])) :: ((mkcut (S (S
-                                                                  (S (S (S (S
-                                                                  (S (S (S (S
-                                                                  (S (S (S (S
-                                                                  (S (S (S (S
-                                                                  (S (S (S (S
-                                                                  (S (S (S (S
-                                                                  (S (S (S (S
-                                                                  (S (S (S (S
-                                                                  (S (S (S (S
-                                                                  O))))))))))))))))))))))))))))))))))))))
-                                                                  (S (S (S (S
-                                                                  (S (S (S (S
-                                                                  (S (S (S (S
-                                                                  (S (S (S (S
-                                                                  (S (S (S (S
-                                                                  (S (S (S (S
-                                                                  (S (S (S (S
-                                                                  (S (S (S (S
-                                                                  (S (S (S (S
-                                                                  (S (S (S (S
-                                                                  (S (S (S (S
-                                                                  (S (S (S (S
-                                                                  (S (S (S (S
-                                                                  (S (S (S (S
-                                                                  (S (S (S (S
-                                                                  (S (S (S (S
-                                                                  (S (S (S (S
-                                                                  (S (S (S (S
-                                                                  (S
-                                                                  O)))))))))))))))))))))))))))))))))))))))))))))))))))))))))))))))))))))))))
-                                                                  (String
-                                                                  ((Ascii
-                                                                  (false,
-                                                                  true,
-                                                                  false,
-                                                                  false,
-                                                                  true,
-                                                                  false,
-                                                                  true,
-                                                                  false)),
-                                                                  (String
-                                                                  ((Ascii
-                                                                  (true,
-                                                                  false,
-                                                                  true,
-                                                                  false,
-                                                                  false,
-                                                                  true, true,
-                                                                  false)),
-                                                                  (String
-                                                                  ((Ascii
-                                                                  (true,
-                                                                  true,
-                                                                  false,
-                                                                  false,
-                                                                  false,
-                                                                  true, true,
-                                                                  false)),
-                                                                  (String
-                                                                  ((Ascii
-                                                                  (true,
-                                                                  false,
-                                                                  true,
-                                                                  false,
-                                                                  false,
-                                                                  true, true,
-                                                                  false)),
-                                                                  (String
-                                                                  ((Ascii
-                                                                  (true,
-                                                                  false,
-                                                                  false,
-                                                                  true,
-                                                                  false,
-                                                                  true, true,
-                                                                  false)),
-                                                                  (String
-                                                                  ((Ascii
-                                                                  (false,
-                                                                  true, true,
-                                                                  false,
-                                                                  true, true,
-                                                                  true,
-                                                                  false)),
-                                                                  (String
-                                                                  ((Ascii
-                                                                  (true,
-                                                                  false,
-                                                                  true,
-                                                                  false,
-                                                                  false,
-                                                                  true, true,
-                                                                  false)),
-                                                                  (String
-                                                                  ((Ascii
-                                                                  (false,
-                                                                  true,
-                                                                  false,
-                                                                  false,
-                                                                  true, true,
-                                                                  true,
-                                                                  false)),
-                                                                  (String
-                                                                  ((Ascii
-                                                                  (true,
-                                                                  true,
-                                                                  false,
-                                                                  false,
-                                                                  false,
-                                                                  false,
-                                                                  true,
-                                                                  false)),
-                                                                  (String
-                                                                  ((Ascii
-                                                                  (true,
-                                                                  true, true,
-                                                                  true,
-                                                                  false,
-                                                                  true, true,
-                                                                  false)),
-                                                                  (String
-                                                                  ((Ascii
-                                                                  (true,
-                                                                  false,
-                                                                  true,
-                                                                  false,
-                                                                  true, true,
-                                                                  true,
-                                                                  false)),
-                                                                  (String
-                                                                  ((Ascii
-                                                                  (false,
-                                                                  true, true,
-                                                                  true,
-                                                                  false,
-                                                                  true, true,
-                                                                  false)),
-                                                                  (String
-                                                                  ((Ascii
-                                                                  (false,
-                                                                  false,
-                                                                  true,
-                                                                  false,
-                                                                  true, true,
-                                                                  true,
-                                                                  false)),
-                                                                  (String
-                                                                  ((Ascii
-                                                                  (false,
-                                                                  true,
-                                                                  false,
-                                                                  false,
-                                                                  true, true,
-                                                                  true,
-                                                                  false)),
-                                                                  (String
-                                                                  ((Ascii
-                                                                  (true,
-                                                                  false,
-                                                                  false,
-                                                                  true, true,
-                                                                  true, true,
-                                                                  false)),
-                                                                  (String
-                                                                  ((Ascii
-                                                                  (false,
-                                                                  false,
-                                                                  false,
-                                                                  false,
-                                                                  true,
-                                                                  false,
-                                                                  true,
-                                                                  false)),
-                                                                  (String
-                                                                  ((Ascii
-                                                                  (true,
-                                                                  true, true,
-                                                                  true,
-                                                                  false,
-                                                                  true, true,
-                                                                  false)),
-                                                                  (String
-                                                                  ((Ascii
-                                                                  (true,
-                                                                  true,
-                                                                  false,
-                                                                  false,
-                                                                  true, true,
-                                                                  true,
-                                                                  false)),
-                                                                  (String
-                                                                  ((Ascii
-                                                                  (false,
-                                                                  false,
-                                                                  true,
-                                                                  false,
-                                                                  true, true,
-                                                                  true,
-                                                                  false)),
-                                                                  (String
-                                                                  ((Ascii
-                                                                  (true,
-                                                                  false,
-                                                                  false,
-                                                                  false,
-                                                                  false,
-                                                                  true, true,
-                                                                  false)),
-                                                                  (String
-                                                                  ((Ascii
-                                                                  (false,
-                                                                  false,
-                                                                  true, true,
-                                                                  false,
-                                                                  true, true,
-                                                                  false)),
-                                                                  (String
-                                                                  ((Ascii
-                                                                  (true,
-                                                                  true,
-                                                                  false,
-                                                                  false,
-                                                                  false,
-                                                                  false,
-                                                                  true,
-                                                                  false)),
-                                                                  (String
-                                                                  ((Ascii
-                                                                  (true,
-                                                                  true, true,
-                                                                  true,
-                                                                  false,
-                                                                  true, true,
-                                                                  false)),
-                                                                  (String
-                                                                  ((Ascii
-                                                                  (false,
-                                                                  false,
-                                                                  true,
-                                                                  false,
-                                                                  false,
-                                                                  true, true,
-                                                                  false)),
-                                                                  (String
-                                                                  ((Ascii
-                                                                  (true,
-                                                                  false,
-                                                                  true,
-                                                                  false,
-                                                                  false,
-                                                                  true, true,
-                                                                  false)),
-                                                                  EmptyString))))))))))))))))))))))))))))))))))))))))))))))))))
-                                                                  ((String
-                                                                  ((Ascii
-                                                                  (true,
-                                                                  true,
-                                                                  false,
-                                                                  false,
-                                                                  true, true,
-                                                                  true,
-                                                                  false)),
-                                                                  (String
-                                                                  ((Ascii
-                                                                  (false,
-                                                                  false,
-                                                                  true,
-                                                                  false,
-                                                                  true, true,
-                                                                  true,
-                                                                  false)),
-                                                                  (String
-                                                                  ((Ascii
-                                                                  (false,
-                                                                  true,
-                                                                  false,
-                                                                  false,
-                                                                  true, true,
-                                                                  true,
-                                                                  false)),
-                                                                  (String
-                                                                  ((Ascii
-                                                                  (true,
-                                                                  false,
-                                                                  false,
-                                                                  true,
-                                                                  false,
-                                                                  true, true,
-                                                                  false)),
-                                                                  (String
-                                                                  ((Ascii
-                                                                  (false,
-                                                                  true, true,
-                                                                  true,
-                                                                  false,
-                                                                  true, true,
-                                                                  false)),
-                                                                  (String
-                                                                  ((Ascii
-                                                                  (true,
-                                                                  true, true,
-                                                                  false,
-                                                                  false,
-                                                                  true, true,
-                                                                  false)),
-                                                                  (String
-                                                                  ((Ascii
-                                                                  (true,
-                                                                  true,
-                                                                  false,
-                                                                  false,
-                                                                  true, true,
-                                                                  true,
-                                                                  false)),
-                                                                  (String
-                                                                  ((Ascii
-                                                                  (false,
-                                                                  true, true,
-                                                                  true,
-                                                                  false,
-                                                                  true,
-                                                                  false,
-                                                                  false)),
-                                                                  (String
-                                                                  ((Ascii
-                                                                  (false,
-                                                                  false,
-                                                                  true,
-                                                                  false,
-                                                                  true,
-                                                                  false,
-                                                                  true,
-                                                                  false)),
-                                                                  (String
-                                                                  ((Ascii
-                                                                  (false,
-                                                                  true,
-                                                                  false,
-                                                                  false,
-                                                                  true, true,
-                                                                  true,
-                                                                  false)),
-                                                                  (String
-                                                                  ((Ascii
-                                                                  (true,
-                                                                  false,
-                                                                  false,
-                                                                  true,
-                                                                  false,
-                                                                  true, true,
-                                                                  false)),
-                                                                  (String
-                                                                  ((Ascii
-                                                                  (true,
-                                                                  false,
-                                                                  true, true,
-                                                                  false,
-                                                                  true, true,
-                                                                  false)),
-                                                                  (String
-                                                                  ((Ascii
-                                                                  (true,
-                                                                  true,
-                                                                  false,
-                                                                  false,
-                                                                  true,
-                                                                  false,
-                                                                  true,
-                                                                  false)),
-                                                                  (String
-                                                                  ((Ascii
-                                                                  (false,
-                                                                  false,
-                                                                  false,
-                                                                  false,
-                                                                  true, true,
-                                                                  true,
-                                                                  false)),
-                                                                  (String
-                                                                  ((Ascii
-                                                                  (true,
-                                                                  false,
-                                                                  false,
-                                                                  false,
-                                                                  false,
-                                                                  true, true,
-                                                                  false)),
-                                                                  (String
-                                                                  ((Ascii
-                                                                  (true,
-                                                                  true,
-                                                                  false,
-                                                                  false,
-                                                                  false,
-                                                                  true, true,
-                                                                  false)),
-                                                                  (String
-                                                                  ((Ascii
-                                                                  (true,
-                                                                  false,
-                                                                  true,
-                                                                  false,
-                                                                  false,
-                                                                  true, true,
-                                                                  false)),
-                                                                  EmptyString)))))))))))))))))))))))))))))))))) :: [])) :: (
-    (mkcut (S (S (S (S (S (S (S (S (S (S (S (S (S (S (S (S (S (S (S (S (S (S
-      (S (S (S (S (S (S (S (S (S (S (S (S (S (S (S (S (S (S (S (S (S (S (S (S
-      (S (S (S (S (S (S (S (S (S (S (S (S (S (S (S (S (S (S (S (S (S (S (S (S
-      (S (S (S
-      O)))))))))))))))))))))))))))))))))))))))))))))))))))))))))))))))))))))))))
-      (S (S (S (S (S (S (S (S (S (S (S (S (S (S (S (S (S (S (S (S (S (S (S (S
-      (S (S (S (S (S (S (S (S (S (S (S (S (S (S (S (S (S (S (S (S (S (S (S (S
-      (S (S (S (S (S (S (S (S (S (S (S (S (S (S (S (S (S (S (S (S (S (S (S (S
-      (S (S (S (S (S (S (S (S (S (S (S (S (S (S (S
-      O)))))))))))))))))))))))))))))))))))))))))))))))))))))))))))))))))))))))))))))))))))))))
-      EmptyString []) :: ((mkcut (S (S (S (S (S (S (S (S (S (S (S (S (S (S (S
-                            (S (S (S (S (S (S (S (S (S (S (S (S (S (S (S (S
-                            (S (S (S (S (S (S (S (S (S (S (S (S (S (S (S (S
-                            (S (S (S (S (S (S (S (S (S (S (S (S (S (S (S (S
-                            (S (S (S (S (S (S (S (S (S (S (S (S (S (S (S (S
-                            (S (S (S (S (S (S (S (S
-                            O)))))))))))))))))))))))))))))))))))))))))))))))))))))))))))))))))))))))))))))))))))))))
-                            (S (S (S (S (S (S (S (S (S (S (S (S (S (S (S (S
-                            (S (S (S (S (S (S (S (S (S (S (S (S (S (S (S (S
-                            (S (S (S (S (S (S (S (S (S (S (S (S (S (S (S (S
-                            (S (S (S (S (S (S (S (S (S (S (S (S (S (S (S (S
-                            (S (S (S (S (S (S (S (S (S (S (S (S (S (S (S (S
-                            (S (S (S (S (S (S (S (S (S (S (S (S (S (S
-                            O))))))))))))))))))))))))))))))))))))))))))))))))))))))))))))))))))))))))))))))))))))))))))))))
-                            (String ((Ascii (true, false, true, false, false,
-                            false, true, false)), (String ((Ascii (false,
-                            true, true, true, false, true, true, false)),
-                            (String ((Ascii (false, false, true, false, true,
-                            true, true, false)), (String ((Ascii (false,
-                            true, false, false, true, true, true, false)),
-                            (String ((Ascii (true, false, false, true, true,
-                            true, true, false)), (String ((Ascii (false,
-                            false, true, false, false, false, true, false)),
-                            (String ((Ascii (true, false, true, false, false,
-                            true, true, false)), (String ((Ascii (false,
-                            false, true, false, true, true, true, false)),
-                            (String ((Ascii (true, false, false, false,
-                            false, true, true, false)), (String ((Ascii
-                            (true, false, false, true, false, true, true,
-                            false)), (String ((Ascii (false, false, true,
-                            true, false, true, true, false)), (String ((Ascii
-                            (true, true, false, false, true, false, true,
-                            false)), (String ((Ascii (true, false, true,
-                            false, false, true, true, false)), (String
-                            ((Ascii (true, false, false, false, true, true,
-                            true, false)), (String ((Ascii (true, false,
-                            true, false, true, true, true, false)), (String
-                            ((Ascii (true, false, true, false, false, true,
-                            true, false)), (String ((Ascii (false, true,
-                            true, true, false, true, true, false)), (String
-                            ((Ascii (true, true, false, false, false, true,
-                            true, false)), (String ((Ascii (true, false,
-                            true, false, false, true, true, false)), (String
-                            ((Ascii (false, true, true, true, false, false,
-                            true, false)), (String ((Ascii (true, false,
-                            true, false, true, true, true, false)), (String
-                            ((Ascii (true, false, true, true, false, true,
-                            true, false)), (String ((Ascii (false, true,
-                            false, false, false, true, true, false)), (String
-                            ((Ascii (true, false, true, false, false, true,
-                            true, false)), (String ((Ascii (false, true,
-                            false, false, true, true, true, false)),
-                            EmptyString))))))))))))))))))))))))))))))))))))))))))))))))))
-                            ((String ((Ascii (false, false, false, false,
-                            true, true, true, false)), (String ((Ascii (true,
-                            false, false, false, false, true, true, false)),
-                            (String ((Ascii (false, true, false, false, true,
-                            true, true, false)), (String ((Ascii (true, true,
-                            false, false, true, true, true, false)), (String
-                            ((Ascii (true, false, true, false, false, true,
-                            true, false)), (String ((Ascii (false, true,
-                            true, true, false, false, true, false)), (String
-                            ((Ascii (true, false, true, false, true, true,
-                            true, false)), (String ((Ascii (true, false,
-                            true, true, false, true, true, false)), (String
-                            ((Ascii (false, true, true, false, false, false,
-                            true, false)), (String ((Ascii (true, false,
-                            false, true, false, true, true, false)), (String
-                            ((Ascii (true, false, true, false, false, true,
-                            true, false)), (String ((Ascii (false, false,
-                            true, true, false, true, true, false)), (String
-                            ((Ascii (false, false, true, false, false, true,
-                            true, false)),
-                            EmptyString)))))))))))))))))))))))))) :: [])) :: [])))))) }
-
-(** val l_Addenda17 : layout **)
-
-let l_Addenda17 =
-  { l_name = (String ((Ascii (true, false, false, false, false, false, true,
-    false)), (String ((Ascii (false, false, true, false, false, true, true,
-    false)), (String ((Ascii (false, false, true, false, false, true, true,
-    false)), (String ((Ascii (true, false, true, false, false, true, true,
-    false)), (String ((Ascii (false, true, true, true, false, true, true,
-    false)), (String ((Ascii (false, false, true, false, false, true, true,
-    false)), (String ((Ascii (true, false, false, false, false, true, true,
-    false)), (String ((Ascii (true, false, false, false, true, true, false,
-    false)), (String ((Ascii (true, true, true, false, true, true, false,
-    false)), EmptyString)))))))))))))))))); l_ix = IRune; l_segs = ((SLit
-    ((Npos (XI (XI (XI (XO (XI XH)))))) :: [])) :: ((SRaw (String ((Ascii
-    (false, false, true, false, true, false, true, false)), (String ((Ascii
-    (true, false, false, true, true, true, true, false)), (String ((Ascii
-    (false, false, false, false, true, true, true, false)), (String ((Ascii
-    (true, false, true, false, false, true, true, false)), (String ((Ascii
-    (true, true, false, false, false, false, true, false)), (String ((Ascii
-    (true, true, true, true, false, true, true, false)), (String ((Ascii
-    (false, false, true, false, false, true, true, false)), (String ((Ascii
-    (true, false, true, false, false, true, true, false)),
-    EmptyString))))))))))))))))) :: ((SAlpha ((String ((Ascii (false, false,
-    false, false, true, false, true, false)), (String ((Ascii (true, false,
-    false, false, false, true, true, false)), (String ((Ascii (true, false,
-    false, true, true, true, true, false)), (String ((Ascii (true, false,
-    true, true, false, true, true, false)), (String ((Ascii (true, false,
-    true, false, false, true, true, false)), (String ((Ascii (false, true,
-    true, true, false, true, true, false)), (String ((Ascii (false, false,
-    true, false, true, true, true, false)), (String ((Ascii (false, true,
-    false, false, true, false, true, false)), (String ((Ascii (true, false,
-    true, false, false, true, true, false)), (String ((Ascii (false, false,
-    true, true, false, true, true, false)), (String ((Ascii (true, false,
-    false, false, false, true, true, false)), (String ((Ascii (false, false,
-    true, false, true, true, true, false)), (String ((Ascii (true, false,
-    true, false, false, true, true, false)), (String ((Ascii (false, false,
-    true, false, false, true, true, false)), (String ((Ascii (true, false,
-    false, true, false, false, true, false)), (String ((Ascii (false, true,
-    true, true, false, true, true, false)), (String ((Ascii (false, true,
-    true, false, false, true, true, false)), (String ((Ascii (true, true,
-    true, true, false, true, true, false)), (String ((Ascii (false, true,
-    false, false, true, true, true, false)), (String ((Ascii (true, false,
-    true, true, false, true, true, false)), (String ((Ascii (true, false,
-    false, false, false, true, true, false)), (String ((Ascii (false, false,
-    true, false, true, true, true, false)), (String ((Ascii (true, false,
-    false, true, false, true, true, false)), (String ((Ascii (true, true,
-    true, true, false, true, true, false)), (String ((Ascii (false, true,
-    true, true, false, true, true, false)),
-    EmptyString)))))))))))))))))))))))))))))))))))))))))))))))))), (S (S (S
-    (S (S (S (S (S (S (S (S (S (S (S (S (S (S (S (S (S (S (S (S (S (S (S (S
-    (S (S (S (S (S (S (S (S (S (S (S (S (S (S (S (S (S (S (S (S (S (S (S (S
-    (S (S (S (S (S (S (S (S (S (S (S (S (S (S (S (S (S (S (S (S (S (S (S (S
-    (S (S (S (S (S
-    O)))))))))))))))))))))))))))))))))))))))))))))))))))))))))))))))))))))))))))))))))) :: ((SNum
-    ((String ((Ascii (true, true, false, false, true, false, true, false)),
-    (String ((Ascii (true, false, true, false, false, true, true, false)),
-    (String ((Ascii (true, false, false, false, true, true, true, false)),
-    (String ((Ascii (true, false, true, false, true, true, true, false)),
-    (String ((Ascii (true, false, true, false, false, true, true, false)),
-    (String ((Ascii (false, true, true, true, false, true, true, false)),
-    (String ((Ascii (true, true, false, false, false, true, true, false)),
-    (String ((Ascii (true, false, true, false, false, true, true, false)),
-    (String ((Ascii (false, true, true, true, false, false, true, false)),
-    (String ((Ascii (true, false, true, false, true, true, true, false)),
-    (String ((Ascii (true, false, true, true, false, true, true, false)),
-    (String ((Ascii (false, true, false, false, false, true, true, false)),
-    (String ((Ascii (true, false, true, false, false, true, true, false)),
-    (String ((Ascii (false, true, false, false, true, true, true, false)),
-    EmptyString)))))))))))))))))))))))))))), (S (S (S (S O)))))) :: ((SNum
-    ((String ((Ascii (true, false, true, false, false, false, true, false)),
-    (String ((Ascii (false, true, true, true, false, true, true, false)),
-    (String ((Ascii (false, false, true, false, true, true, true, false)),
-    (String ((Ascii (false, true, false, false, true, true, true, false)),
-    (String ((Ascii (true, false, false, true, true, true, true, false)),
-    (String ((Ascii (false, false, true, false, false, false, true, false)),
-    (String ((Ascii (true, false, true, false, false, true, true, false)),
-    (String ((Ascii (false, false, true, false, true, true, true, false)),
-    (String ((Ascii (true, false, false, false, false, true, true, false)),
-    (String ((Ascii (true, false, false, true, false, true, true, false)),
-    (String ((Ascii (false, false, true, true, false, true, true, false)),
-    (String ((Ascii (true, true, false, false, true, false, true, false)),
-    (String ((Ascii (true, false, true, false, false, true, true, false)),
-    (String ((Ascii (true, false, false, false, true, true, true, false)),
-    (String ((Ascii (true, false, true, false, true, true, true, false)),
-    (String ((Ascii (true, false, true, false, false, true, true, false)),
-    (String ((Ascii (false, true, true, true, false, true, true, false)),
-    (String ((Ascii (true, true, false, false, false, true, true, false)),
-    (String ((Ascii (true, false, true, false, false, true, true, false)),
-    (String ((Ascii (false, true, true, true, false, false, true, false)),
-    (String ((Ascii (true, false, true, false, true, true, true, false)),
-    (String ((Ascii (true, false, true, true, false, true, true, false)),
-    (String ((Ascii (false, true, false, false, false, true, true, false)),
-    (String ((Ascii (true, false, true, false, false, true, true, false)),
-    (String ((Ascii (false, true, false, false, true, true, true, false)),
-    EmptyString)))))))))))))))))))))))))))))))))))))))))))))))))), (S (S (S
-    (S (S (S (S O))))))))) :: []))))); l_cuts =
-    ((mkcut O (S O) EmptyString []) :: ((mkcut (S O) (S (S (S O))) (String
-                                          ((Ascii (false, false, true, false,
-                                          true, false, true, false)), (String
-                                          ((Ascii (true, false, false, true,
-                                          true, true, true, false)), (String
-                                          ((Ascii (false, false, false,
-                                          false, true, true, true, false)),
-                                          (String ((Ascii (true, false, true,
-                                          false, false, true, true, false)),
-                                          (String ((Ascii (true, true, false,
-                                          false, false, false, true, false)),
-                                          (String ((Ascii (true, true, true,
-                                          true, false, true, true, false)),
-                                          (String ((Ascii (false, false,
-                                          true, false, false, true, true,
-                                          false)), (String ((Ascii (true,
-                                          false, true, false, false, true,
-                                          true, false)),
-                                          EmptyString)))))))))))))))) []) :: (
-    (mkcut (S (S (S O))) (S (S (S (S (S (S (S (S (S (S (S (S (S (S (S (S (S
-      (S (S (S (S (S (S (S (S (S (S (S (S (S (S (S (S (S (S (S (S (S (S (S (S
-      (S (S (S (S (S (S (S (S (S (S (S (S (S (S (S (S (S (S (S (S (S (S (S (S
-      (S (S (S (S (S (S (S (S (S (S (S (S (S (S (S (S (S (S
-      O)))))))))))))))))))))))))))))))))))))))))))))))))))))))))))))))))))))))))))))))))))
-      (String ((Ascii (false, false, false, false, true, false, true,
-      false)), (String ((Ascii (true, false, false, false, false, true, true,
-      false)), (String ((Ascii (true, false, false, true, true, true, true,
-      false)), (String ((Ascii (true, false, true, true, false, true, true,
-      false)), (String ((Ascii (true, false, true, false, false, true, true,
-      false)), (String ((Ascii (false, true, true, true, false, true, true,
-      false)), (String ((Ascii (false, false, true, false, true, true, true,
-      false)), (String ((Ascii (false, true, false, false, true, false, true,
-      false)), (String ((Ascii (true, false, true, false, false, true, true,
-      false)), (String ((Ascii (false, false, true, true, false, true, true,
-      false)), (String ((Ascii (true, false, false, false, false, true, true,
-      false)), (String ((Ascii (false, false, true, false, true, true, true,
-      false)), (String ((Ascii (true, false, true, false, false, true, true,
-      false)), (String ((Ascii (false, false, true, false, false, true, true,
-      false)), (String ((Ascii (true, false, false, true, false, false, true,
-      false)), (String ((Ascii (false, true, true, true, false, true, true,
-      false)), (String ((Ascii (false, true, true, false, false, true, true,
-      false)), (String ((Ascii (true, true, true, true, false, true, true,
-      false)), (String ((Ascii (false, true, false, false, true, true, true,
-      false)), (String ((Ascii (true, false, true, true, false, true, true,
-      false)), (String ((Ascii (true, false, false, false, false, true, true,
-      false)), (String ((Ascii (false, false, true, false, true, true, true,
-      false)), (String ((Ascii (true, false, false, true, false, true, true,
-      false)), (String ((Ascii (true, true, true, true, false, true, true,
-      false)), (String ((Ascii (false, true, true, true, false, true, true,
-      false)), EmptyString))))))))))))))))))))))))))))))))))))))))))))))))))
-      ((String ((Ascii (true, true, false, false, true, true, true, false)),
-      (String ((Ascii (false, false, true, false, true, true, true, false)),
-      (String ((Ascii (false, true, false, false, true, true, true, false)),
-      (String ((Ascii (true, false, false, true, false, true, true, false)),
-      (String ((Ascii (false, true, true, true, false, true, true, false)),
-      (String ((Ascii (true, true, true, false, false, true, true, false)),
-      (String ((Ascii (true, true, false, false, true, true, true, false)),
-      (String ((Ascii (false, true, true, true, false, true, false, false)),
-      (String ((Ascii (false, false, true, false, true, false, true, false)),
-      (String ((Ascii (false, true, false, false, true, true, true, false)),
-      (String ((Ascii (true, false, false, true, false, true, true, false)),
-      (String ((Ascii (true, false, true, true, false, true, true, false)),
-      (String ((Ascii (true, true, false, false, true, false, true, false)),
-      (String ((Ascii (false, false, false, false, true, true, true, false)),
-      (String ((Ascii (true, false, false, false, false, true, true, false)),
-      (String ((Ascii (true, true, false, false, false, true, true, false)),
-      (String ((Ascii (true, false, true, false, false, true, true, false)),
-      EmptyString)))))))))))))))))))))))))))))))))) :: [])) :: ((mkcut (S (S
-                                                                  (S (S (S (S
-                                                                  (S (S (S (S
-                                                                  (S (S (S (S
-                                                                  (S (S (S (S
-                                                                  (S (S (S (S
-                                                                  (S (S (S (S
-                                                                  (S (S (S (S
-                                                                  (S (S (S (S
-                                                                  (S (S (S (S
-                                                                  (S (S (S (S
-                                                                  (S (S (S (S
-                                                                  (S (S (S (S
-                                                                  (S (S (S (S
-                                                                  (S (S (S (S
-                                                                  (S (S (S (S
-                                                                  (S (S (S (S
-                                                                  (S (S (S (S
-                                                                  (S (S (S (S
-                                                                  (S (S (S (S
-                                                                  (S (S (S (S
-                                                                  (S
-                                                                  O)))))))))))))))))))))))))))))))))))))))))))))))))))))))))))))))))))))))))))))))))))
-                                                                  (S (S (S (S
-                                                                  (S (S (S (S
-                                                                  (S (S (S (S
-                                                                  (S (S (S (S
-                                                                  (S (S (S (S
-                                                                  (S (S (S (S
-                                                                  (S (S (S (S
-                                                                  (S (S (S (S
-                                                                  (S (S (S (S
-                                                                  (S (S (S (S
-                                                                  (S (S (S (S
-                                                                  (S (S (S (S
-                                                                  (S (S (S (S
-                                                                  (S (S (S (S
-                                                                  (S (S (S (S
-                                                                  (S (S (S (S
-                                                                  (S (S (S (S
-                                                                  (S (S (S (S
-                                                                  (S (S (S (S
-                                                                  (S (S (S (S
-                                                                  (S (S (S (S
-                                                                  (S (S (S
-                                                                  O)))))))))))))))))))))))))))))))))))))))))))))))))))))))))))))))))))))))))))))))))))))))
-                                                                  (String
-                                                                  ((Ascii
-                                                                  (true,
-                                                                  true,
-                                                                  false,
-                                                                  false,
-                                                                  true,
-                                                                  false,
-                                                                  true,
-                                                                  false)),
-                                                                  (String
-                                                                  ((Ascii
-                                                                  (true,
-                                                                  false,
-                                                                  true,
-                                                                  false,
-                                                                  false,
-                                                                  true, true,
-                                                                  false)),
-                                                                  (String
-                                                                  ((Ascii
-                                                                  (true,
-                                                                  false,
-                                                                  false,
-                                                                  false,
-                                                                  true, true,
-                                                                  true,
-                                                                  false)),
-                                                                  (String
-                                                                  ((Ascii
-                                                                  (true,
-                                                                  false,
-                                                                  true,
-                                                                  false,
-                                                                  true, true,
-                                                                  true,
-                                                                  false)),
-                                                                  (String
-                                                                  ((Ascii
-                                                                  (true,
-                                                                  false,
-                                                                  true,
-                                                                  false,
-                                                                  false,
-                                                                  true, true,
-                                                                  false)),
-                                                                  (String
-                                                                  ((Ascii
-                                                                  (false,
-                                                                  true, true,
-                                                                  true,
-                                                                  false,
-                                                                  true, true,
-                                                                  false)),
-                                                                  (String
-                                                                  ((Ascii
-                                                                  (true,
-                                                                  true,
-                                                                  false,
-                                                                  false,
-                                                                  false,
-                                                                  true, true,
-                                                                  false)),
-                                                                  (String
-                                                                  ((Ascii
-                                                                  (true,
-                                                                  false,
-                                                                  true,
-                                                                  false,
-                                                                  false,
-                                                                  true, true,
-                                                                  false)),
-                                                                  (String
-                                                                  ((Ascii
-                                                                  (false,
-                                                                  true, true,
-                                                                  true,
-                                                                  false,
-                                                                  false,
-                                                                  true,
-                                                                  false)),
-                                                                  (String
-                                                                  ((Ascii
-                                                                  (true,
-                                                                  false,
-                                                                  true,
-                                                                  false,
-                                                                  true, true,
-                                                                  true,
-                                                                  false)),
-                                                                  (String
-                                                                  ((Ascii
-                                                                  (true,
-                                                                  false,
-                                                                  true, true,
-                                                                  false,
-                                                                  true, true,
-                                                                  false)),
-                                                                  (String
-                                                                  ((Ascii
-                                                                  (false,
-                                                                  true,
-                                                                  false,
-                                                                  false,
-                                                                  false,
-                                                                  true, true,
-                                                                  false)),
-                                                                  (String
-                                                                  ((Ascii
-                                                                  (true,
-                                                                  false,
-                                                                  true,
-                                                                  false,
-                                                                  false,
-                                                                  true, true,
-                                                                  false)),
-                                                                  (String
-                                                                  ((Ascii
-                                                                  (false,
-                                                                  true,
-                                                                  false,
-                                                                  false,
-                                                                  true, true,
-                                                                  true,
-                                                                  false)),
-                                                                  EmptyString))))))))))))))))))))))))))))
-                                                                  ((String
-                                                                  ((Ascii
-                                                                  (false,
-                                                                  false,
-                                                                  false,
-                                                                  false,
-                                                                  true, true,
-                                                                  true,
-                                                                  false)),
-                                                                  (String
-                                                                  ((Ascii
-                                                                  (true,
-                                                                  false,
-                                                                  false,
-                                                                  false,
-                                                                  false,
-                                                                  true, true,
-                                                                  false)),
-                                                                  (String
-                                                                  ((Ascii
-                                                                  (false,
-                                                                  true,
-                                                                  false,
-                                                                  false,
-                                                                  true, true,
-                                                                  true,
-                                                                  false)),
-                                                                  (String
-                                                                  ((Ascii
-                                                                  (true,
-                                                                  true,
-                                                                  false,
-                                                                  false,
-                                                                  true, true,
-                                                                  true,
-                                                                  false)),
-                                                                  (String
-                                                                  ((Ascii
-                                                                  (true,
-                                                                  false,
-                                                                  true,
-                                                                  false,
-                                                                  false,
-                                                                  true, true,
-                                                                  false)),
-                                                                  (String
-                                                                  ((Ascii
-                                                                  (false,
-                                                                  true, true,
-                                                                  true,
-                                                                  false,
-                                                                  false,
-                                                                  true,
-                                                                  false)),
-                                                                  (String
-                                                                  ((Ascii
-                                                                  (true,
-                                                                  false,
-                                                                  true,
-                                                                  false,
-                                                                  true, true,
-                                                                  true,
-                                                                  false)),
-                                                                  (String
-                                                                  ((Ascii
-                                                                  (true,
-                                                                  false,
-                                                                  true, true,
-                                                                  false,
-                                                                  true, true,
-                                                                  false)),
-                                                                  (String
-                                                                  ((Ascii
-                                                                  (false,
-                                                                  true, true,
-                                                                  false,
-                                                                  false,
-                                                                  false,
-                                                                  true,
-                                                                  false)),
-                                                                  (String
-                                                                  ((Ascii
-                                                                  (true,
-                                                                  false,
-                                                                  false,
-                                                                  true,
-                                                                  false,
-                                                                  true, true,
-                                                                  false)),
-                                                                  (String
-                                                                  ((Ascii
-                                                                  (true,
-                                                                  false,
-                                                                  true,
-                                                                  false,
-                                                                  false,
-                                                                  true, true,
-                                                                  false)),
-                                                                  (String
-                                                                  ((Ascii
-                                                                  (false,
-                                                                  false,
-                                                                  true, true,
-                                                                  false,
-                                                                  true, true,
-                                                                  false)),
-                                                                  (String
-                                                                  ((Ascii
-                                                                  (false,
-                                                                  false,
-                                                                  true,
-                                                                  false,
-                                                                  false,
-                                                                  true, true,
-                                                                  false)),
-                                                                  EmptyString)))))))))))))))))))))))))) :: [])) :: (
-    (mkcut (S (S (S (S (S (S (S (S (S (S (S (S (S (S (S (S (S (S (S (S (S (S
-      (S (S (S (S (S (S (S (S (S (S (S (S (S (S (S (S (S (S (S (S (S (S (S (S
-      (S (S (S (S (S (S (S (S (S (S (S (S (S (S (S (S (S (S (S (S (S (S (S (S
-      (S (S (S (S (S (S (S (S (S (S (S (S (S (S (S (S (S
-      O)))))))))))))))))))))))))))))))))))))))))))))))))))))))))))))))))))))))))))))))))))))))
-      (S (S (S (S (S (S (S (S (S (S (S (S (S (S (S (S (S (S (S (S (S (S (S (S
-      (S (S (S (S (S (S (S (S (S (S (S (S (S (S (S (S (S (S (S (S (S (S (S (S
-      (S (S (S (S (S (S (S (S (S (S (S (S (S (S (S (S (S (S (S (S (S (S (S (S
-      (S (S (S (S (S (S (S (S (S (S (S (S (S (S (S (S (S (S (S (S (S (S
-      O))))))))))))))))))))))))))))))))))))))))))))))))))))))))))))))))))))))))))))))))))))))))))))))
-      (String ((Ascii (true, false, true, false, false, false, true, false)),
-      (String ((Ascii (false, true, true, true, false, true, true, false)),
-      (String ((Ascii (false, false, true, false, true, true, true, false)),
-      (String ((Ascii (false, true, false, false, true, true, true, false)),
-      (String ((Ascii (true, false, false, true, true, true, true, false)),
-      (String ((Ascii (false, false, true, false, false, false, true,
-      false)), (String ((Ascii (true, false, true, false, false, true, true,
-      false)), (String ((Ascii (false, false, true, false, true, true, true,
-      false)), (String ((Ascii (true, false, false, false, false, true, true,
-      false)), (String ((Ascii (true, false, false, true, false, true, true,
-      false)), (String ((Ascii (false, false, true, true, false, true, true,
-      false)), (String ((Ascii (true, true, false, false, true, false, true,
-      false)), (String ((Ascii (true, false, true, false, false, true, true,
-      false)), (String ((Ascii (true, false, false, false, true, true, true,
-      false)), (String ((Ascii (true, false, true, false, true, true, true,
-      false)), (String ((Ascii (true, false, true, false, false, true, true,
-      false)), (String ((Ascii (false, true, true, true, false, true, true,
-      false)), (String ((Ascii (true, true, false, false, false, true, true,
-      false)), (String ((Ascii (true, false, true, false, false, true, true,
-      false)), (String ((Ascii (false, true, true, true, false, false, true,
-      false)), (String ((Ascii (true, false, true, false, true, true, true,
-      false)), (String ((Ascii (true, false, true, true, false, true, true,
-      false)), (String ((Ascii (false, true, false, false, false, true, true,
-      false)), (String ((Ascii (true, false, true, false, false, true, true,
-      false)), (String ((Ascii (false, true, false, false, true, true, true,
-      false)), EmptyString))))))))))))))))))))))))))))))))))))))))))))))))))
-      ((String ((Ascii (false, false, false, false, true, true, true,
-      false)), (String ((Ascii (true, false, false, false, false, true, true,
-      false)), (String ((Ascii (false, true, false, false, true, true, true,
-      false)), (String ((Ascii (true, true, false, false, true, true, true,
-      false)), (String ((Ascii (true, false, true, false, false, true, true,
-      false)), (String ((Ascii (false, true, true, true, false, false, true,
-      false)), (String ((Ascii (true, false, true, false, true, true, true,
-      false)), (String ((Ascii (true, false, true, true, false, true, true,
-      false)), (String ((Ascii (false, true, true, false, false, false, true,
-      false)), (String ((Ascii (true, false, false, true, false, true, true,
-      false)), (String ((Ascii (true, false, true, false, false, true, true,
-      false)), (String ((Ascii (false, false, true, true, false, true, true,
-      false)), (String ((Ascii (false, false, true, false, false, true, true,
-      false)), EmptyString)))))))))))))))))))))))))) :: [])) :: []))))) }
-
-(** val l_Addenda18 : layout **)
-
-let l_Addenda18 =
-  { l_name = (String ((Ascii (true, false, false, false, false, false, true,
-    false)), (String ((Ascii (false, false, true, false, false, true, true,
-    false)), (String ((Ascii (false, false, true, false, false, true, true,
-    false)), (String ((Ascii (true, false, true, false, false, true, true,
-    false)), (String ((Ascii (false, true, true, true, false, true, true,
-    false)), (String ((Ascii (false, false, true, false, false, true, true,
-    false)), (String ((Ascii (true, false, false, false, false, true, true,
-    false)), (String ((Ascii (true, false, false, false, true, true, false,
-    false)), (String ((Ascii (false, false, false, true, true, true, false,
-    false)), EmptyString)))))))))))))))))); l_ix = IRune; l_segs = ((SLit
-    ((Npos (XI (XI (XI (XO (XI XH)))))) :: [])) :: ((SRaw (String ((Ascii
-    (false, false, true, false, true, false, true, false)), (String ((Ascii
-    (true, false, false, true, true, true, true, false)), (String ((Ascii
-    (false, false, false, false, true, true, true, false)), (String ((Ascii
-    (true, false, true, false, false, true, true, false)), (String ((Ascii
-    (true, true, false, false, false, false, true, false)), (String ((Ascii
-    (true, true, true, true, false, true, true, false)), (String ((Ascii
-    (false, false, true, false, false, true, true, false)), (String ((Ascii
-    (true, false, true, false, false, true, true, false)),
-    EmptyString))))))))))))))))) :: ((SAlpha ((String ((Ascii (false, true,
-    true, false, false, false, true, false)), (String ((Ascii (true, true,
-    true, true, false, true, true, false)), (String ((Ascii (false, true,
-    false, false, true, true, true, false)), (String ((Ascii (true, false,
-    true, false, false, true, true, false)), (String ((Ascii (true, false,
-    false, true, false, true, true, false)), (String ((Ascii (true, true,
-    true, false, false, true, true, false)), (String ((Ascii (false, true,
-    true, true, false, true, true, false)), (String ((Ascii (true, true,
-    false, false, false, false, true, false)), (String ((Ascii (true, true,
-    true, true, false, true, true, false)), (String ((Ascii (false, true,
-    false, false, true, true, true, false)), (String ((Ascii (false, true,
-    false, false, true, true, true, false)), (String ((Ascii (true, false,
-    true, false, false, true, true, false)), (String ((Ascii (true, true,
-    false, false, true, true, true, false)), (String ((Ascii (false, false,
-    false, false, true, true, true, false)), (String ((Ascii (true, true,
-    true, true, false, true, true, false)), (String ((Ascii (false, true,
-    true, true, false, true, true, false)), (String ((Ascii (false, false,
-    true, false, false, true, true, false)), (String ((Ascii (true, false,
-    true, false, false, true, true, false)), (String ((Ascii (false, true,
-    true, true, false, true, true, false)), (String ((Ascii (false, false,
-    true, false, true, true, true, false)), (String ((Ascii (false, true,
-    false, false, false, false, true, false)), (String ((Ascii (true, false,
-    false, false, false, true, true, false)), (String ((Ascii (false, true,
-    true, true, false, true, true, false)), (String ((Ascii (true, true,
-    false, true, false, true, true, false)), (String ((Ascii (false, true,
-    true, true, false, false, true, false)), (String ((Ascii (true, false,
-    false, false, false, true, true, false)), (String ((Ascii (true, false,
-    true, true, false, true, true, false)), (String ((Ascii (true, false,
-    true, false, false, true, true, false)),
-    EmptyString)))))))))))))))))))))))))))))))))))))))))))))))))))))))), (S
-    (S (S (S (S (S (S (S (S (S (S (S (S (S (S (S (S (S (S (S (S (S (S (S (S
-    (S (S (S (S (S (S (S (S (S (S
-    O))))))))))))))))))))))))))))))))))))) :: ((SAlpha ((String ((Ascii
-    (false, true, true, false, false, false, true, false)), (String ((Ascii
-    (true, true, true, true, false, true, true, false)), (String ((Ascii
-    (false, true, false, false, true, true, true, false)), (String ((Ascii
-    (true, false, true, false, false, true, true, false)), (String ((Ascii
-    (true, false, false, true, false, true, true, false)), (String ((Ascii
-    (true, true, true, false, false, true, true, false)), (String ((Ascii
-    (false, true, true, true, false, true, true, false)), (String ((Ascii
-    (true, true, false, false, false, false, true, false)), (String ((Ascii
-    (true, true, true, true, false, true, true, false)), (String ((Ascii
-    (false, true, false, false, true, true, true, false)), (String ((Ascii
-    (false, true, false, false, true, true, true, false)), (String ((Ascii
-    (true, false, true, false, false, true, true, false)), (String ((Ascii
-    (true, true, false, false, true, true, true, false)), (String ((Ascii
-    (false, false, false, false, true, true, true, false)), (String ((Ascii
-    (true, true, true, true, false, true, true, false)), (String ((Ascii
-    (false, true, true, true, false, true, true, false)), (String ((Ascii
-    (false, false, true, false, false, true, true, false)), (String ((Ascii
-    (true, false, true, false, false, true, true, false)), (String ((Ascii
-    (false, true, true, true, false, true, true, false)), (String ((Ascii
-    (false, false, true, false, true, true, true, false)), (String ((Ascii
-    (false, true, false, false, false, false, true, false)), (String ((Ascii
-    (true, false, false, false, false, true, true, false)), (String ((Ascii
-    (false, true, true, true, false, true, true, false)), (String ((Ascii
-    (true, true, false, true, false, true, true, false)), (String ((Ascii
-    (true, false, false, true, false, false, true, false)), (String ((Ascii
-    (false, false, true, false, false, false, true, false)), (String ((Ascii
-    (false, true, true, true, false, false, true, false)), (String ((Ascii
-    (true, false, true, false, true, true, true, false)), (String ((Ascii
-    (true, false, true, true, false, true, true, false)), (String ((Ascii
-    (false, true, false, false, false, true, true, false)), (String ((Ascii
-    (true, false, true, false, false, true, true, false)), (String ((Ascii
-    (false, true, false, false, true, true, true, false)), (String ((Ascii
-    (true, false, false, false, true, false, true, false)), (String ((Ascii
-    (true, false, true, false, true, true, true, false)), (String ((Ascii
-    (true, false, false, false, false, true, true, false)), (String ((Ascii
-    (false, false, true, true, false, true, true, false)), (String ((Ascii
-    (true, false, false, true, false, true, true, false)), (String ((Ascii
-    (false, true, true, false, false, true, true, false)), (String ((Ascii
-    (true, false, false, true, false, true, true, false)), (String ((Ascii
-    (true, false, true, false, false, true, true, false)), (String ((Ascii
-    (false, true, false, false, true, true, true, false)),
-    EmptyString)))))))))))))))))))))))))))))))))))))))))))))))))))))))))))))))))))))))))))))))))),
-    (S (S O)))) :: ((SAlpha ((String ((Ascii (false, true, true, false,
-    false, false, true, false)), (String ((Ascii (true, true, true, true,
-    false, true, true, false)), (String ((Ascii (false, true, false, false,
-    true, true, true, false)), (String ((Ascii (true, false, true, false,
-    false, true, true, false)), (String ((Ascii (true, false, false, true,
-    false, true, true, false)), (String ((Ascii (true, true, true, false,
-    false, true, true, false)), (String ((Ascii (false, true, true, true,
-    false, true, true, false)), (String ((Ascii (true, true, false, false,
-    false, false, true, false)), (String ((Ascii (true, true, true, true,
-    false, true, true, false)), (String ((Ascii (false, true, false, false,
-    true, true, true, false)), (String ((Ascii (false, true, false, false,
-    true, true, true, false)), (String ((Ascii (true, false, true, false,
-    false, true, true, false)), (String ((Ascii (true, true, false, false,
-    true, true, true, false)), (String ((Ascii (false, false, false, false,
-    true, true, true, false)), (String ((Ascii (true, true, true, true,
-    false, true, true, false)), (String ((Ascii (false, true, true, true,
-    false, true, true, false)), (String ((Ascii (false, false, true, false,
-    false, true, true, false)), (String ((Ascii (true, false, true, false,
-    false, true, true, false)), (String ((Ascii (false, true, true, true,
-    false, true, true, false)), (String ((Ascii (false, false, true, false,
-    true, true, true, false)), (String ((Ascii (false, true, false, false,
-    false, false, true, false)), (String ((Ascii (true, false, false, false,
-    false, true, true, false)), (String ((Ascii (false, true, true, true,
-    false, true, true, false)), (String ((Ascii (true, true, false, true,
-    false, true, true, false)), (String ((Ascii (true, false, false, true,
-    false, false, true, false)), (String ((Ascii (false, false, true, false,
-    false, false, true, false)), (String ((Ascii (false, true, true, true,
-    false, false, true, false)), (String ((Ascii (true, false, true, false,
-    true, true, true, false)), (String ((Ascii (true, false, true, true,
-    false, true, true, false)), (String ((Ascii (false, true, false, false,
-    false, true, true, false)), (String ((Ascii (true, false, true, false,
-    false, true, true, false)), (String ((Ascii (false, true, false, false,
-    true, true, true, false)),
-    EmptyString)))))))))))))))))))))))))))))))))))))))))))))))))))))))))))))))),
-    (S (S (S (S (S (S (S (S (S (S (S (S (S (S (S (S (S (S (S (S (S (S (S (S
-    (S (S (S (S (S (S (S (S (S (S
-    O)))))))))))))))))))))))))))))))))))) :: ((SAlpha ((String ((Ascii
-    (false, true, true, false, false, false, true, false)), (String ((Ascii
-    (true, true, true, true, false, true, true, false)), (String ((Ascii
-    (false, true, false, false, true, true, true, false)), (String ((Ascii
-    (true, false, true, false, false, true, true, false)), (String ((Ascii
-    (true, false, false, true, false, true, true, false)), (String ((Ascii
-    (true, true, true, false, false, true, true, false)), (String ((Ascii
-    (false, true, true, true, false, true, true, false)), (String ((Ascii
-    (true, true, false, false, false, false, true, false)), (String ((Ascii
-    (true, true, true, true, false, true, true, false)), (String ((Ascii
-    (false, true, false, false, true, true, true, false)), (String ((Ascii
-    (false, true, false, false, true, true, true, false)), (String ((Ascii
-    (true, false, true, false, false, true, true, false)), (String ((Ascii
-    (true, true, false, false, true, true, true, false)), (String ((Ascii
-    (false, false, false, false, true, true, true, false)), (String ((Ascii
-    (true, true, true, true, false, true, true, false)), (String ((Ascii
-    (false, true, true, true, false, true, true, false)), (String ((Ascii
-    (false, false, true, false, false, true, true, false)), (String ((Ascii
-    (true, false, true, false, false, true, true, false)), (String ((Ascii
-    (false, true, true, true, false, true, true, false)), (String ((Ascii
-    (false, false, true, false, true, true, true, false)), (String ((Ascii
-    (false, true, false, false, false, false, true, false)), (String ((Ascii
-    (true, false, false, false, false, true, true, false)), (String ((Ascii
-    (false, true, true, true, false, true, true, false)), (String ((Ascii
-    (true, true, false, true, false, true, true, false)), (String ((Ascii
-    (false, true, false, false, false, false, true, false)), (String ((Ascii
-    (false, true, false, false, true, true, true, false)), (String ((Ascii
-    (true, false, false, false, false, true, true, false)), (String ((Ascii
-    (false, true, true, true, false, true, true, false)), (String ((Ascii
-    (true, true, false, false, false, true, true, false)), (String ((Ascii
-    (false, false, false, true, false, true, true, false)), (String ((Ascii
-    (true, true, false, false, false, false, true, false)), (String ((Ascii
-    (true, true, true, true, false, true, true, false)), (String ((Ascii
-    (true, false, true, false, true, true, true, false)), (String ((Ascii
-    (false, true, true, true, false, true, true, false)), (String ((Ascii
-    (false, false, true, false, true, true, true, false)), (String ((Ascii
-    (false, true, false, false, true, true, true, false)), (String ((Ascii
-    (true, false, false, true, true, true, true, false)), (String ((Ascii
-    (true, true, false, false, false, false, true, false)), (String ((Ascii
-    (true, true, true, true, false, true, true, false)), (String ((Ascii
-    (false, false, true, false, false, true, true, false)), (String ((Ascii
-    (true, false, true, false, false, true, true, false)),
-    EmptyString)))))))))))))))))))))))))))))))))))))))))))))))))))))))))))))))))))))))))))))))))),
-    (S (S (S O))))) :: ((SLit ((Npos (XO (XO (XO (XO (XO XH)))))) :: ((Npos
-    (XO (XO (XO (XO (XO XH)))))) :: ((Npos (XO (XO (XO (XO (XO
-    XH)))))) :: ((Npos (XO (XO (XO (XO (XO XH)))))) :: ((Npos (XO (XO (XO (XO
-    (XO XH)))))) :: ((Npos (XO (XO (XO (XO (XO
-    XH)))))) :: []))))))) :: ((SNum ((String ((Ascii (true, true, false,
-    false, true, false, true, false)), (String ((Ascii (true, false, true,
-    false, false, true, true, false)), (String ((Ascii (true, false, false,
-    false, true, true, true, false)), (String ((Ascii (true, false, true,
-    false, true, true, true, false)), (String ((Ascii (true, false, true,
-    false, false, true, true, false)), (String ((Ascii (false, true, true,
-    true, false, true, true, false)), (String ((Ascii (true, true, false,
-    false, false, true, true, false)), (String ((Ascii (true, false, true,
-    false, false, true, true, false)), (String ((Ascii (false, true, true,
-    true, false, false, true, false)), (String ((Ascii (true, false, true,
-    false, true, true, true, false)), (String ((Ascii (true, false, true,
-    true, false, true, true, false)), (String ((Ascii (false, true, false,
-    false, false, true, true, false)), (String ((Ascii (true, false, true,
-    false, false, true, true, false)), (String ((Ascii (false, true, false,
-    false, true, true, true, false)),
-    EmptyString)))))))))))))))))))))))))))), (S (S (S (S O)))))) :: ((SNum
-    ((String ((Ascii (true, false, true, false, false, false, true, false)),
-    (String ((Ascii (false, true, true, true, false, true, true, false)),
-    (String ((Ascii (false, false, true, false, true, true, true, false)),
-    (String ((Ascii (false, true, false, false, true, true, true, false)),
-    (String ((Ascii (true, false, false, true, true, true, true, false)),
-    (String ((Ascii (false, false, true, false, false, false, true, false)),
-    (String ((Ascii (true, false, true, false, false, true, true, false)),
-    (String ((Ascii (false, false, true, false, true, true, true, false)),
-    (String ((Ascii (true, false, false, false, false, true, true, false)),
-    (String ((Ascii (true, false, false, true, false, true, true, false)),
-    (String ((Ascii (false, false, true, true, false, true, true, false)),
-    (String ((Ascii (true, true, false, false, true, false, true, false)),
-    (String ((Ascii (true, false, true, false, false, true, true, false)),
-    (String ((Ascii (true, false, false, false, true, true, true, false)),
-    (String ((Ascii (true, false, true, false, true, true, true, false)),
-    (String ((Ascii (true, false, true, false, false, true, true, false)),
-    (String ((Ascii (false, true, true, true, false, true, true, false)),
-    (String ((Ascii (true, true, false, false, false, true, true, false)),
-    (String ((Ascii (true, false, true, false, false, true, true, false)),
-    (String ((Ascii (false, true, true, true, false, false, true, false)),
-    (String ((Ascii (true, false, true, false, true, true, true, false)),
-    (String ((Ascii (true, false, true, true, false, true, true, false)),
-    (String ((Ascii (false, true, false, false, false, true, true, false)),
-    (String ((Ascii (true, false, true, false, false, true, true, false)),
-    (String ((Ascii (false, true, false, false, true, true, true, false)),
-    EmptyString)))))))))))))))))))))))))))))))))))))))))))))))))), (S (S (S
-    (S (S (S (S O))))))))) :: []))))))))); l_cuts =
-    ((mkcut O (S O) EmptyString []) :: ((mkcut (S O) (S (S (S O))) (String
-                                          ((Ascii (false, false, true, false,
-                                          true, false, true, false)), (String
-                                          ((Ascii (true, false, false, true,
-                                          true, true, true, false)), (String
-                                          ((Ascii (false, false, false,
-                                          false, true, true, true, false)),
-                                          (String ((Ascii (true, false, true,
-                                          false, false, true, true, false)),
-                                          (String ((Ascii (true, true, false,
-                                          false, false, false, true, false)),
-                                          (String ((Ascii (true, true, true,
-                                          true, false, true, true, false)),
-                                          (String ((Ascii (false, false,
-                                          true, false, false, true, true,
-                                          false)), (String ((Ascii (true,
-                                          false, true, false, false, true,
-                                          true, false)),
-                                          EmptyString)))))))))))))))) []) :: (
-    (mkcut (S (S (S O))) (S (S (S (S (S (S (S (S (S (S (S (S (S (S (S (S (S
-      (S (S (S (S (S (S (S (S (S (S (S (S (S (S (S (S (S (S (S (S (S
-      O)))))))))))))))))))))))))))))))))))))) (String ((Ascii (false, true,
-      true, false, false, false, true, false)), (String ((Ascii (true, true,
-      true, true, false, true, true, false)), (String ((Ascii (false, true,
-      false, false, true, true, true, false)), (String ((Ascii (true, false,
-      true, false, false, true, true, false)), (String ((Ascii (true, false,
-      false, true, false, true, true, false)), (String ((Ascii (true, true,
-      true, false, false, true, true, false)), (String ((Ascii (false, true,
-      true, true, false, true, true, false)), (String ((Ascii (true, true,
-      false, false, false, false, true, false)), (String ((Ascii (true, true,
-      true, true, false, true, true, false)), (String ((Ascii (false, true,
-      false, false, true, true, true, false)), (String ((Ascii (false, true,
-      false, false, true, true, true, false)), (String ((Ascii (true, false,
-      true, false, false, true, true, false)), (String ((Ascii (true, true,
-      false, false, true, true, true, false)), (String ((Ascii (false, false,
-      false, false, true, true, true, false)), (String ((Ascii (true, true,
-      true, true, false, true, true, false)), (String ((Ascii (false, true,
-      true, true, false, true, true, false)), (String ((Ascii (false, false,
-      true, false, false, true, true, false)), (String ((Ascii (true, false,
-      true, false, false, true, true, false)), (String ((Ascii (false, true,
-      true, true, false, true, true, false)), (String ((Ascii (false, false,
-      true, false, true, true, true, false)), (String ((Ascii (false, true,
-      false, false, false, false, true, false)), (String ((Ascii (true,
-      false, false, false, false, true, true, false)), (String ((Ascii
-      (false, true, true, true, false, true, true, false)), (String ((Ascii
-      (true, true, false, true, false, true, true, false)), (String ((Ascii
-      (false, true, true, true, false, false, true, false)), (String ((Ascii
-      (true, false, false, false, false, true, true, false)), (String ((Ascii
-      (true, false, true, true, false, true, true, false)), (String ((Ascii
-      (true, false, true, false, false, true, true, false)),
-      EmptyString))))))))))))))))))))))))))))))))))))))))))))))))))))))))
-      ((String ((Ascii (true, true, false, false, true, true, true, false)),
-      (String ((Ascii (false, false, true, false, true, true, true, false)),
-      (String ((Ascii (false, true, false, false, true, true, true, false)),
-      (String ((Ascii (true, false, false, true, false, true, true, false)),
-      (String ((Ascii (false, true, true, true, false, true, true, false)),
-      (String ((Ascii (true, true, true, false, false, true, true, false)),
-      (String ((Ascii (true, true, false, false, true, true, true, false)),
-      (String ((Ascii (false, true, true, true, false, true, false, false)),
-      (String ((Ascii (false, false, true, false, true, false, true, false)),
-      (String ((Ascii (false, true, false, false, true, true, true, false)),
-      (String ((Ascii (true, false, false, true, false, true, true, false)),
-      (String ((Ascii (true, false, true, true, false, true, true, false)),
-      (String ((Ascii (true, true, false, false, true, false, true, false)),
-      (String ((Ascii (false, false, false, false, true, true, true, false)),
-      (String ((Ascii (true, false, false, false, false, true, true, false)),
-      (String ((Ascii (true, true, false, false, false, true, true, false)),
-      (String ((Ascii (true, false, true, false, false, true, true, false)),
-      EmptyString)))))))))))))))))))))))))))))))))) :: [])) :: ((mkcut (S (S
-                                                                  (S (S (S (S
-                                                                  (S (S (S (S
-                                                                  (S (S (S (S
-                                                                  (S (S (S (S
-                                                                  (S (S (S (S
-                                                                  (S (S (S (S
-                                                                  (S (S (S (S
-                                                                  (S (S (S (S
-                                                                  (S (S (S (S
-                                                                  O))))))))))))))))))))))))))))))))))))))
-                                                                  (S (S (S (S
-                                                                  (S (S (S (S
-                                                                  (S (S (S (S
-                                                                  (S (S (S (S
-                                                                  (S (S (S (S
-                                                                  (S (S (S (S
-                                                                  (S (S (S (S
-                                                                  (S (S (S (S
-                                                                  (S (S (S (S
-                                                                  (S (S (S (S
-                                                                  O))))))))))))))))))))))))))))))))))))))))
-                                                                  (String
-                                                                  ((Ascii
-                                                                  (false,
-                                                                  true, true,
-                                                                  false,
-                                                                  false,
-                                                                  false,
-                                                                  true,
-                                                                  false)),
-                                                                  (String
-                                                                  ((Ascii
-                                                                  (true,
-                                                                  true, true,
-                                                                  true,
-                                                                  false,
-                                                                  true, true,
-                                                                  false)),
-                                                                  (String
-                                                                  ((Ascii
-                                                                  (false,
-                                                                  true,
-                                                                  false,
-                                                                  false,
-                                                                  true, true,
-                                                                  true,
-                                                                  false)),
-                                                                  (String
-                                                                  ((Ascii
-                                                                  (true,
-                                                                  false,
-                                                                  true,
-                                                                  false,
-                                                                  false,
-                                                                  true, true,
-                                                                  false)),
-                                                                  (String
-                                                                  ((Ascii
-                                                                  (true,
-                                                                  false,
-                                                                  false,
-                                                                  true,
-                                                                  false,
-                                                                  true, true,
-                                                                  false)),
-                                                                  (String
-                                                                  ((Ascii
-                                                                  (true,
-                                                                  true, true,
-                                                                  false,
-                                                                  false,
-                                                                  true, true,
-                                                                  false)),
-                                                                  (String
-                                                                  ((Ascii
-                                                                  (false,
-                                                                  true, true,
-                                                                  true,
-                                                                  false,
-                                                                  true, true,
-                                                                  false)),
-                                                                  (String
-                                                                  ((Ascii
-                                                                  (true,
-                                                                  true,
-                                                                  false,
-                                                                  false,
-                                                                  false,
-                                                                  false,
-                                                                  true,
-                                                                  false)),
-                                                                  (String
-                                                                  ((Ascii
-                                                                  (true,
-                                                                  true, true,
-                                                                  true,
-                                                                  false,
-                                                                  true, true,
-                                                                  false)),
-                                                                  (String
-                                                                  ((Ascii
-                                                                  (false,
-                                                                  true,
-                                                                  false,
-                                                                  false,
-                                                                  true, true,
-                                                                  true,
-                                                                  false)),
-                                                                  (String
-                                                                  ((Ascii
-                                                                  (false,
-                                                                  true,
-                                                                  false,
-                                                                  false,
-                                                                  true, true,
-                                                                  true,
-                                                                  false)),
-                                                                  (String
-                                                                  ((Ascii
-                                                                  (true,
-                                                                  false,
-                                                                  true,
-                                                                  false,
-                                                                  false,
-                                                                  true, true,
-                                                                  false)),
-                                                                  (String
-                                                                  ((Ascii
-                                                                  (true,
-                                                                  true,
-                                                                  false,
-                                                                  false,
-                                                                  true, true,
-                                                                  true,
-                                                                  false)),
-                                                                  (String
-                                                                  ((Ascii
-                                                                  (false,
-                                                                  false,
-                                                                  false,
-                                                                  false,
-                                                                  true, true,
-                                                                  true,
-                                                                  false)),
-                                                                  (String
-                                                                  ((Ascii
-                                                                  (true,
-                                                                  true, true,
-                                                                  true,
-                                                                  false,
-                                                                  true, true,
-                                                                  false)),
-                                                                  (String
-                                                                  ((Ascii
-                                                                  (false,
-                                                                  true, true,
-                                                                  true,
-                                                                  false,
-                                                                  true, true,
-                                                                  false)),
-                                                                  (String
-                                                                  ((Ascii
-                                                                  (false,
-                                                                  false,
-                                                                  true,
-                                                                  false,
-                                                                  false,
-                                                                  true, true,
-                                                                  false)),
-                                                                  (String
-                                                                  ((Ascii
-                                                                  (true,
-                                                                  false,
-                                                                  true,
-                                                                  false,
-                                                                  false,
-                                                                  true, true,
-                                                                  false)),
-                                                                  (String
-                                                                  ((Ascii
-                                                                  (false,
-                                                                  true, true,
-                                                                  true,
-                                                                  false,
-                                                                  true, true,
-                                                                  false)),
-                                                                  (String
-                                                                  ((Ascii
-                                                                  (false,
-                                                                  false,
-                                                                  true,
-                                                                  false,
-                                                                  true, true,
-                                                                  true,
-                                                                  false)),
-                                                                  (String
-                                                                  ((Ascii
-                                                                  (false,
-                                                                  true,
-                                                                  false,
-                                                                  false,
-                                                                  false,
-                                                                  false,
-                                                                  true,
-                                                                  false)),
-                                                                  (String
-                                                                  ((Ascii
-                                                                  (true,
-                                                                  false,
-                                                                  false,
-                                                                  false,
-                                                                  false,
-                                                                  true, true,
-                                                                  false)),
-                                                                  (String
-                                                                  ((Ascii
-                                                                  (false,
-                                                                  true, true,
-                                                                  true,
-                                                                  false,
-                                                                  true, true,
-                                                                  false)),
-                                                                  (String
-                                                                  ((Ascii
-                                                                  (true,
-                                                                  true,
-                                                                  false,
-                                                                  true,
-                                                                  false,
-                                                                  true, true,
-                                                                  false)),
-                                                                  (String
-                                                                  ((Ascii
-                                                                  (true,
-                                                                  false,
-                                                                  false,
-                                                                  true,
-                                                                  false,
-                                                                  false,
-                                                                  true,
-                                                                  false)),
-                                                                  (String
-                                                                  ((Ascii
-                                                                  (false,
-                                                                  false,
-                                                                  true,
-                                                                  false,
-                                                                  false,
-                                                                  false,
-                                                                  true,
-                                                                  false)),
-                                                                  (String
-                                                                  ((Ascii
-                                                                  (false,
-                                                                  true, true,
-                                                                  true,
-                                                                  false,
-                                                                  false,
-                                                                  true,
-                                                                  false)),
-                                                                  (String
-                                                                  ((Ascii
-                                                                  (true,
-                                                                  false,
-                                                                  true,
-                                                                  false,
-                                                                  true, true,
-                                                                  true,
-                                                                  false)),
-                                                                  (String
-                                                                  ((Ascii
-                                                                  (true,
-                                                                  false,
-                                                                  true, true,
-                                                                  false,
-                                                                  true, true,
-                                                                  false)),
-                                                                  (String
-                                                                  ((Ascii
-                                                                  (false,
-                                                                  true,
-                                                                  false,
-                                                                  false,
-                                                                  false,
-                                                                  true, true,
-                                                                  false)),
-                                                                  (String
-                                                                  ((Ascii
-                                                                  (true,
-                                                                  false,
-                                                                  true,
-                                                                  false,
-                                                                  false,
-                                                                  true, true,
-                                                                  false)),
-                                                                  (String
-                                                                  ((Ascii
-                                                                  (false,
-                                                                  true,
-                                                                  false,
-                                                                  false,
-                                                                  true, true,
-                                                                  true,
-                                                                  false)),
-                                                                  (String
-                                                                  ((Ascii
-                                                                  (true,
-                                                                  false,
-                                                                  false,
-                                                                  false,
-                                                                  true,
-                                                                  false,
-                                                                  true,
-                                                                  false)),
-                                                                  (String
-                                                                  ((Ascii
-                                                                  (true,
-                                                                  false,
-                                                                  true,
-                                                                  false,
-                                                                  true, true,
-                                                                  true,
-                                                                  false)),
-                                                                  (String
-                                                                  ((Ascii
-                                                                  (true,
-                                                                  false,
-                                                                  false,
-                                                                  false,
-                                                                  false,
-                                                                  true, true,
-                                                                  false)),
-                                                                  (String
-                                                                  ((Ascii
-                                                                  (false,
-                                                                  false,
-                                                                  true, true,
-                                                                  false,
-                                                                  true, true,
-                                                                  false)),
-                                                                  (String
-                                                                  ((Ascii
-                                                                  (true,
-                                                                  false,
-                                                                  false,
-                                                                  true,
-                                                                  false,
-                                                                  true, true,
-                                                                  false)),
-                                                                  (String
-                                                                  ((Ascii
-                                                                  (false,
-                                                                  true, true,
-                                                                  false,
-                                                                  false,
-                                                                  true, true,
-                                                                  false)),
-                                                                  (String
-                                                                  ((Ascii
-                                                                  (true,
-                                                                  false,
-                                                                  false,
-                                                                  true,
-                                                                  false,
-                                                                  true, true,
-                                                                  false)),
-                                                                  (String
-                                                                  ((Ascii
-                                                                  (true,
-                                                                  false,
-                                                                  true,
-                                                                  false,
-                                                                  false,
-                                                                  true, true,
-                                                                  false)),
-                                                                  (String
-                                                                  ((Ascii
-                                                                  (false,
-                                                                  true,
-                                                                  false,
-                                                                  false,
-                                                                  true, true,
-                                                                  true,
-                                                                  false)),
-                                                                  EmptyString))))))))))))))))))))))))))))))))))))))))))))))))))))))))))))))))))))))))))))))))))
-                                                                  []) :: (
-    (mkcut (S (S (S (S (S (S (S (S (S (S (S (S (S (S (S (S (S (S (S (S (S (S
-      (S (S (S (S (S (S (S (S (S (S (S (S (S (S (S (S (S (S
-      O)))))))))))))))))))))))))))))))))))))))) (S (S (S (S (S (S (S (S (S (S
-      (S (S (S (S (S (S (S (S (S (S (S (S (S (S (S (S (S (S (S (S (S (S (S (S
-      (S (S (S (S (S (S (S (S (S (S (S (S (S (S (S (S (S (S (S (S (S (S (S (S
-      (S (S (S (S (S (S (S (S (S (S (S (S (S (S (S (S
-      O))))))))))))))))))))))))))))))))))))))))))))))))))))))))))))))))))))))))))
-      (String ((Ascii (false, true, true, false, false, false, true, false)),
-      (String ((Ascii (true, true, true, true, false, true, true, false)),
-      (String ((Ascii (false, true, false, false, true, true, true, false)),
-      (String ((Ascii (true, false, true, false, false, true, true, false)),
-      (String ((Ascii (true, false, false, true, false, true, true, false)),
-      (String ((Ascii (true, true, true, false, false, true, true, false)),
-      (String ((Ascii (false, true, true, true, false, true, true, false)),
-      (String ((Ascii (true, true, false, false, false, false, true, false)),
-      (String ((Ascii (true, true, true, true, false, true, true, false)),
-      (String ((Ascii (false, true, false, false, true, true, true, false)),
-      (String ((Ascii (false, true, false, false, true, true, true, false)),
-      (String ((Ascii (true, false, true, false, false, true, true, false)),
-      (String ((Ascii (true, true, false, false, true, true, true, false)),
-      (String ((Ascii (false, false, false, false, true, true, true, false)),
-      (String ((Ascii (true, true, true, true, false, true, true, false)),
-      (String ((Ascii (false, true, true, true, false, true, true, false)),
-      (String ((Ascii (false, false, true, false, false, true, true, false)),
-      (String ((Ascii (true, false, true, false, false, true, true, false)),
-      (String ((Ascii (false, true, true, true, false, true, true, false)),
-      (String ((Ascii (false, false, true, false, true, true, true, false)),
-      (String ((Ascii (false, true, false, false, false, false, true,
-      false)), (String ((Ascii (true, false, false, false, false, true, true,
-      false)), (String ((Ascii (false, true, true, true, false, true, true,
-      false)), (String ((Ascii (true, true, false, true, false, true, true,
-      false)), (String ((Ascii (true, false, false, true, false, false, true,
-      false)), (String ((Ascii (false, false, true, false, false, false,
-      true, false)), (String ((Ascii (false, true, true, true, false, false,
-      true, false)), (String ((Ascii (true, false, true, false, true, true,
-      true, false)), (String ((Ascii (true, false, true, true, false, true,
-      true, false)), (String ((Ascii (false, true, false, false, false, true,
-      true, false)), (String ((Ascii (true, false, true, false, false, true,
-      true, false)), (String ((Ascii (false, true, false, false, true, true,
-      true, false)),
-      EmptyString))))))))))))))))))))))))))))))))))))))))))))))))))))))))))))))))
-      ((String ((Ascii (true, true, false, false, true, true, true, false)),
-      (String ((Ascii (false, false, true, false, true, true, true, false)),
-      (String ((Ascii (false, true, false, false, true, true, true, false)),
-      (String ((Ascii (true, false, false, true, false, true, true, false)),
-      (String ((Ascii (false, true, true, true, false, true, true, false)),
-      (String ((Ascii (true, true, true, false, false, true, true, false)),
-      (String ((Ascii (true, true, false, false, true, true, true, false)),
-      (String ((Ascii (false, true, true, true, false, true, false, false)),
-      (String ((Ascii (false, false, true, false, true, false, true, false)),
-      (String ((Ascii (false, true, false, false, true, true, true, false)),
-      (String ((Ascii (true, false, false, true, false, true, true, false)),
-      (String ((Ascii (true, false, true, true, false, true, true, false)),
-      (String ((Ascii (true, true, false, false, true, false, true, false)),
-      (String ((Ascii (false, false, false, false, true, true, true, false)),
-      (String ((Ascii (true, false, false, false, false, true, true, false)),
-      (String ((Ascii (true, true, false, false, false, true, true, false)),
-      (String ((Ascii (true, false, true, false, false, true, true, false)),
-      EmptyString)))))))))))))))))))))))))))))))))) :: [])) :: ((mkcut (S (S
-                                                                  (S (S (S (S
-                                                                  (S (S (S (S
-                                                                  (S (S (S (S
-                                                                  (S (S (S (S
-                                                                  (S (S (S (S
-                                                                  (S (S (S (S
-                                                                  (S (S (S (S
-                                                                  (S (S (S (S
-                                                                  (S (S (S (S
-                                                                  (S (S (S (S
-                                                                  (S (S (S (S
-                                                                  (S (S (S (S
-                                                                  (S (S (S (S
-                                                                  (S (S (S (S
-                                                                  (S (S (S (S
-                                                                  (S (S (S (S
-                                                                  (S (S (S (S
-                                                                  (S (S (S (S
-                                                                  O))))))))))))))))))))))))))))))))))))))))))))))))))))))))))))))))))))))))))
-                                                                  (S (S (S (S
-                                                                  (S (S (S (S
-                                                                  (S (S (S (S
-                                                                  (S (S (S (S
-                                                                  (S (S (S (S
-                                                                  (S (S (S (S
-                                                                  (S (S (S (S
-                                                                  (S (S (S (S
-                                                                  (S (S (S (S
-                                                                  (S (S (S (S
-                                                                  (S (S (S (S
-                                                                  (S (S (S (S
-                                                                  (S (S (S (S
-                                                                  (S (S (S (S
-                                                                  (S (S (S (S
-                                                                  (S (S (S (S
-                                                                  (S (S (S (S
-                                                                  (S (S (S (S
-                                                                  (S (S (S (S
-                                                                  (S
-                                                                  O)))))))))))))))))))))))))))))))))))))))))))))))))))))))))))))))))))))))))))))
-                                                                  (String
-                                                                  ((Ascii
-                                                                  (false,
-                                                                  true, true,
-                                                                  false,
-                                                                  false,
-                                                                  false,
-                                                                  true,
-                                                                  false)),
-                                                                  (String
-                                                                  ((Ascii
-                                                                  (true,
-                                                                  true, true,
-                                                                  true,
-                                                                  false,
-                                                                  true, true,
-                                                                  false)),
-                                                                  (String
-                                                                  ((Ascii
-                                                                  (false,
-                                                                  true,
-                                                                  false,
-                                                                  false,
-                                                                  true, true,
-                                                                  true,
-                                                                  false)),
-                                                                  (String
-                                                                  ((Ascii
-                                                                  (true,
-                                                                  false,
-                                                                  true,
-                                                                  false,
-                                                                  false,
-                                                                  true, true,
-                                                                  false)),
-                                                                  (String
-                                                                  ((Ascii
-                                                                  (true,
-                                                                  false,
-                                                                  false,
-                                                                  true,
-                                                                  false,
-                                                                  true, true,
-                                                                  false)),
-                                                                  (String
-                                                                  ((Ascii
-                                                                  (true,
-                                                                  true, true,
-                                                                  false,
-                                                                  false,
-                                                                  true, true,
-                                                                  false)),
-                                                                  (String
-                                                                  ((Ascii
-                                                                  (false,
-                                                                  true, true,
-                                                                  true,
-                                                                  false,
-                                                                  true, true,
-                                                                  false)),
-                                                                  (String
-                                                                  ((Ascii
-                                                                  (true,
-                                                                  true,
-                                                                  false,
-                                                                  false,
-                                                                  false,
-                                                                  false,
-                                                                  true,
-                                                                  false)),
-                                                                  (String
-                                                                  ((Ascii
-                                                                  (true,
-                                                                  true, true,
-                                                                  true,
-                                                                  false,
-                                                                  true, true,
-                                                                  false)),
-                                                                  (String
-                                                                  ((Ascii
-                                                                  (false,
-                                                                  true,
-                                                                  false,
-                                                                  false,
-                                                                  true, true,
-                                                                  true,
-                                                                  false)),
-                                                                  (String
-                                                                  ((Ascii
-                                                                  (false,
-                                                                  true,
-                                                                  false,
-                                                                  false,
-                                                                  true, true,
-                                                                  true,
-                                                                  false)),
-                                                                  (String
-                                                                  ((Ascii
-                                                                  (true,
-                                                                  false,
-                                                                  true,
-                                                                  false,
-                                                                  false,
-                                                                  true, true,
-                                                                  false)),
-                                                                  (String
-                                                                  ((Ascii
-                                                                  (true,
-                                                                  true,
-                                                                  false,
-                                                                  false,
-                                                                  true, true,
-                                                                  true,
-                                                                  false)),
-                                                                  (String
-                                                                  ((Ascii
-                                                                  (false,
-                                                                  false,
-                                                                  false,
-                                                                  false,
-                                                                  true, true,
-                                                                  true,
-                                                                  false)),
-                                                                  (String
-                                                                  ((Ascii
-                                                                  (true,
-                                                                  true, true,
-                                                                  true,
-                                                                  false,
-                                                                  true, true,
-                                                                  false)),
-                                                                  (String
-                                                                  ((Ascii
-                                                                  (false,
-                                                                  true, true,
-                                                                  true,
-                                                                  false,
-                                                                  true, true,
-                                                                  false)),
-                                                                  (String
-                                                                  ((Ascii
-                                                                  (false,
-                                                                  false,
-                                                                  true,
-                                                                  false,
-                                                                  false,
-                                                                  true, true,
-                                                                  false)),
-                                                                  (String
-                                                                  ((Ascii
-                                                                  (true,
-                                                                  false,
-                                                                  true,
-                                                                  false,
-                                                                  false,
-                                                                  true, true,
-                                                                  false)),
-                                                                  (String
-                                                                  ((Ascii
-                                                                  (false,
-                                                                  true, true,
-                                                                  true,
-                                                                  false,
-                                                                  true, true,
-                                                                  false)),
-                                                                  (String
-                                                                  ((Ascii
-                                                                  (false,
-                                                                  false,
-                                                                  true,
-                                                                  false,
-                                                                  true, true,
-                                                                  true,
-                                                                  false)),
-                                                                  (String
-                                                                  ((Ascii
-                                                                  (false,
-                                                                  true,
-                                                                  false,
-                                                                  false,
-                                                                  false,
-                                                                  false,
-                                                                  true,
-                                                                  false)),
-                                                                  (String
-                                                                  ((Ascii
-                                                                  (true,
-                                                                  false,
-                                                                  false,
-                                                                  false,
-                                                                  false,
-                                                                  true, true,
-                                                                  false)),
-                                                                  (String
-                                                                  ((Ascii
-                                                                  (false,
-                                                                  true, true,
-                                                                  true,
-                                                                  false,
-                                                                  true, true,
-                                                                  false)),
-                                                                  (String
-                                                                  ((Ascii
-                                                                  (true,
-                                                                  true,
-                                                                  false,
-                                                                  true,
-                                                                  false,
-                                                                  true, true,
-                                                                  false)),
-                                                                  (String
-                                                                  ((Ascii
-                                                                  (false,
-                                                                  true,
-                                                                  false,
-                                                                  false,
-                                                                  false,
-                                                                  false,
-                                                                  true,
-                                                                  false)),
-                                                                  (String
-                                                                  ((Ascii
-                                                                  (false,
-                                                                  true,
-                                                                  false,
-                                                                  false,
-                                                                  true, true,
-                                                                  true,
-                                                                  false)),
-                                                                  (String
-                                                                  ((Ascii
-                                                                  (true,
-                                                                  false,
-                                                                  false,
-                                                                  false,
-                                                                  false,
-                                                                  true, true,
-                                                                  false)),
-                                                                  (String
-                                                                  ((Ascii
-                                                                  (false,
-                                                                  true, true,
-                                                                  true,
-                                                                  false,
-                                                                  true, true,
-                                                                  false)),
-                                                                  (String
-                                                                  ((Ascii
-                                                                  (true,
-                                                                  true,
-                                                                  false,
-                                                                  false,
-                                                                  false,
-                                                                  true, true,
-                                                                  false)),
-                                                                  (String
-                                                                  ((Ascii
-                                                                  (false,
-                                                                  false,
-                                                                  false,
-                                                                  true,
-                                                                  false,
-                                                                  true, true,
-                                                                  false)),
-                                                                  (String
-                                                                  ((Ascii
-                                                                  (true,
-                                                                  true,
-                                                                  false,
-                                                                  false,
-                                                                  false,
-                                                                  false,
-                                                                  true,
-                                                                  false)),
-                                                                  (String
-                                                                  ((Ascii
-                                                                  (true,
-                                                                  true, true,
-                                                                  true,
-                                                                  false,
-                                                                  true, true,
-                                                                  false)),
-                                                                  (String
-                                                                  ((Ascii
-                                                                  (true,
-                                                                  false,
-                                                                  true,
-                                                                  false,
-                                                                  true, true,
-                                                                  true,
-                                                                  false)),
-                                                                  (String
-                                                                  ((Ascii
-                                                                  (false,
-                                                                  true, true,
-                                                                  true,
-                                                                  false,
-                                                                  true, true,
-                                                                  false)),
-                                                                  (String
-                                                                  ((Ascii
-                                                                  (false,
-                                                                  false,
-                                                                  true,
-                                                                  false,
-                                                                  true, true,
-                                                                  true,
-                                                                  false)),
-                                                                  (String
-                                                                  ((Ascii
-                                                                  (false,
-                                                                  true,
-                                                                  false,
-                                                                  false,
-                                                                  true, true,
-                                                                  true,
-                                                                  false)),
-                                                                  (String
-                                                                  ((Ascii
-                                                                  (true,
-                                                                  false,
-                                                                  false,
-                                                                  true, true,
-                                                                  true, true,
-                                                                  false)),
-                                                                  (String
-                                                                  ((Ascii
-                                                                  (true,
-                                                                  true,
-                                                                  false,
-                                                                  false,
-                                                                  false,
-                                                                  false,
-                                                                  true,
-                                                                  false)),
-                                                                  (String
-                                                                  ((Ascii
-                                                                  (true,
-                                                                  true, true,
-                                                                  true,
-                                                                  false,
-                                                                  true, true,
-                                                                  false)),
-                                                                  (String
-                                                                  ((Ascii
-                                                                  (false,
-                                                                  false,
-                                                                  true,
-                                                                  false,
-                                                                  false,
-                                                                  true, true,
-                                                                  false)),
-                                                                  (String
-                                                                  ((Ascii
-                                                                  (true,
-                                                                  false,
-                                                                  true,
-                                                                  false,
-                                                                  false,
-                                                                  true, true,
-                                                                  false)),
-                                                                  EmptyString))))))))))))))))))))))))))))))))))))))))))))))))))))))))))))))))))))))))))))))))))
-                                                                  ((String
-                                                                  ((Ascii
-                                                                  (true,
-                                                                  true,
-                                                                  false,
-                                                                  false,
-                                                                  true, true,
-                                                                  true,
-                                                                  false)),
-                                                                  (String
-                                                                  ((Ascii
-                                                                  (false,
-                                                                  false,
-                                                                  true,
-                                                                  false,
-                                                                  true, true,
-                                                                  true,
-                                                                  false)),
-                                                                  (String
-                                                                  ((Ascii
-                                                                  (false,
-                                                                  true,
-                                                                  false,
-                                                                  false,
-                                                                  true, true,
-                                                                  true,
-                                                                  false)),
-                                                                  (String
-                                                                  ((Ascii
-                                                                  (true,
-                                                                  false,
-                                                                  false,
-                                                                  true,
-                                                                  false,
-                                                                  true, true,
-                                                                  false)),
-                                                                  (String
-                                                                  ((Ascii
-                                                                  (false,
-                                                                  true, true,
-                                                                  true,
-                                                                  false,
-                                                                  true, true,
-                                                                  false)),
-                                                                  (String
-                                                                  ((Ascii
-                                                                  (true,
-                                                                  true, true,
-                                                                  false,
-                                                                  false,
-                                                                  true, true,
-                                                                  false)),
-                                                                  (String
-                                                                  ((Ascii
-                                                                  (true,
-                                                                  true,
-                                                                  false,
-                                                                  false,
-                                                                  true, true,
-                                                                  true,
-                                                                  false)),
-                                                                  (String
-                                                                  ((Ascii
-                                                                  (false,
-                                                                  true, true,
-                                                                  true,
-                                                                  false,
-                                                                  true,
-                                                                  false,
-                                                                  false)),
-                                                                  (String
-                                                                  ((Ascii
-                                                                  (false,
-                                                                  false,
-                                                                  true,
-                                                                  false,
-                                                                  true,
-                                                                  false,
-                                                                  true,
-                                                                  false)),
-                                                                  (String
-                                                                  ((Ascii
-                                                                  (false,
-                                                                  true,
-                                                                  false,
-                                                                  false,
-                                                                  true, true,
-                                                                  true,
-                                                                  false)),
-                                                                  (String
-                                                                  ((Ascii
-                                                                  (true,
-                                                                  false,
-                                                                  false,
-                                                                  true,
-                                                                  false,
-                                                                  true, true,
-                                                                  false)),
-                                                                  (String
-                                                                  ((Ascii
-                                                                  (true,
-                                                                  false,
-                                                                  true, true,
-                                                                  false,
-                                                                  true, true,
-                                                                  false)),
-                                                                  (String
-                                                                  ((Ascii
-                                                                  (true,
-                                                                  true,
-                                                                  false,
-                                                                  false,
-                                                                  true,
-                                                                  false,
-                                                                  true,
-                                                                  false)),
-                                                                  (String
-                                                                  ((Ascii
-                                                                  (false,
-                                                                  false,
-                                                                  false,
-                                                                  false,
-                                                                  true, true,
-                                                                  true,
-                                                                  false)),
-                                                                  (String
-                                                                  ((Ascii
-                                                                  (true,
-                                                                  false,
-                                                                  false,
-                                                                  false,
-                                                                  false,
-                                                                  true, true,
-                                                                  false)),
-                                                                  (String
-                                                                  ((Ascii
-                                                                  (true,
-                                                                  true,
-                                                                  false,
-                                                                  false,
-                                                                  false,
-                                                                  true, true,
-                                                                  false)),
-                                                                  (String
-                                                                  ((Ascii
-                                                                  (true,
-                                                                  false,
-                                                                  true,
-                                                                  false,
-                                                                  false,
-                                                                  true, true,
-                                                                  false)),
-                                                                  EmptyString)))))))))))))))))))))))))))))))))) :: [])) :: (
-    (mkcut (S (S (S (S (S (S (S (S (S (S (S (S (S (S (S (S (S (S (S (S (S (S
-      (S (S (S (S (S (S (S (S (S (S (S (S (S (S (S (S (S (S (S (S (S (S (S (S
-      (S (S (S (S (S (S (S (S (S (S (S (S (S (S (S (S (S (S (S (S (S (S (S (S
-      (S (S (S (S (S (S (S
-      O)))))))))))))))))))))))))))))))))))))))))))))))))))))))))))))))))))))))))))))
-      (S (S (S (S (S (S (S (S (S (S (S (S (S (S (S (S (S (S (S (S (S (S (S (S
-      (S (S (S (S (S (S (S (S (S (S (S (S (S (S (S (S (S (S (S (S (S (S (S (S
-      (S (S (S (S (S (S (S (S (S (S (S (S (S (S (S (S (S (S (S (S (S (S (S (S
-      (S (S (S (S (S (S (S (S (S (S (S
-      O)))))))))))))))))))))))))))))))))))))))))))))))))))))))))))))))))))))))))))))))))))
-      EmptyString []) :: ((mkcut (S (S (S (S (S (S (S (S (S (S (S (S (S (S (S
-                            (S (S (S (S (S (S (S (S (S (S (S (S (S (S (S (S
-                            (S (S (S (S (S (S (S (S (S (S (S (S (S (S (S (S
-                            (S (S (S (S (S (S (S (S (S (S (S (S (S (S (S (S
-                            (S (S (S (S (S (S (S (S (S (S (S (S (S (S (S (S
-                            (S (S (S (S
-                            O)))))))))))))))))))))))))))))))))))))))))))))))))))))))))))))))))))))))))))))))))))
-                            (S (S (S (S (S (S (S (S (S (S (S (S (S (S (S (S
-                            (S (S (S (S (S (S (S (S (S (S (S (S (S (S (S (S
-                            (S (S (S (S (S (S (S (S (S (S (S (S (S (S (S (S
-                            (S (S (S (S (S (S (S (S (S (S (S (S (S (S (S (S
-                            (S (S (S (S (S (S (S (S (S (S (S (S (S (S (S (S
-                            (S (S (S (S (S (S (S
-                            O)))))))))))))))))))))))))))))))))))))))))))))))))))))))))))))))))))))))))))))))))))))))
-                            (String ((Ascii (true, true, false, false, true,
-                            false, true, false)), (String ((Ascii (true,
-                            false, true, false, false, true, true, false)),
-                            (String ((Ascii (true, false, false, false, true,
-                            true, true, false)), (String ((Ascii (true,
-                            false, true, false, true, true, true, false)),
-                            (String ((Ascii (true, false, true, false, false,
-                            true, true, false)), (String ((Ascii (false,
-                            true, true, true, false, true, true, false)),
-                            (String ((Ascii (true, true, false, false, false,
-                            true, true, false)), (String ((Ascii (true,
-                            false, true, false, false, true, true, false)),
-                            (String ((Ascii (false, true, true, true, false,
-                            false, true, false)), (String ((Ascii (true,
-                            false, true, false, true, true, true, false)),
-                            (String ((Ascii (true, false, true, true, false,
-                            true, true, false)), (String ((Ascii (false,
-                            true, false, false, false, true, true, false)),
-                            (String ((Ascii (true, false, true, false, false,
-                            true, true, false)), (String ((Ascii (false,
-                            true, false, false, true, true, true, false)),
-                            EmptyString)))))))))))))))))))))))))))) ((String
-                            ((Ascii (false, false, false, false, true, true,
-                            true, false)), (String ((Ascii (true, false,
-                            false, false, false, true, true, false)), (String
-                            ((Ascii (false, true, false, false, true, true,
-                            true, false)), (String ((Ascii (true, true,
-                            false, false, true, true, true, false)), (String
-                            ((Ascii (true, false, true, false, false, true,
-                            true, false)), (String ((Ascii (false, true,
-                            true, true, false, false, true, false)), (String
-                            ((Ascii (true, false, true, false, true, true,
-                            true, false)), (String ((Ascii (true, false,
-                            true, true, false, true, true, false)), (String
-                            ((Ascii (false, true, true, false, false, false,
-                            true, false)), (String ((Ascii (true, false,
-                            false, true, false, true, true, false)), (String
-                            ((Ascii (true, false, true, false, false, true,
-                            true, false)), (String ((Ascii (false, false,
-                            true, true, false, true, true, false)), (String
-                            ((Ascii (false, false, true, false, false, true,
-                            true, false)),
-                            EmptyString)))))))))))))))))))))))))) :: [])) :: (
-    (mkcut (S (S (S (S (S (S (S (S (S (S (S (S (S (S (S (S (S (S (S (S (S (S
-      (S (S (S (S (S (S (S (S (S (S (S (S (S (S (S (S (S (S (S (S (S (S (S (S
-      (S (S (S (S (S (S (S (S (S (S (S (S (S (S (S (S (S (S (S (S (S (S (S (S
-      (S (S (S (S (S (S (S (S (S (S (S (S (S (S (S (S (S
-      O)))))))))))))))))))))))))))))))))))))))))))))))))))))))))))))))))))))))))))))))))))))))
-      (S (S (S (S (S (S (S (S (S (S (S (S (S (S (S (S (S (S (S (S (S (S (S (S
-      (S (S (S (S (S (S (S (S (S (S (S (S (S (S (S (S (S (S (S (S (S (S (S (S
-      (S (S (S (S (S (S (S (S (S (S (S (S (S (S (S (S (S (S (S (S (S (S (S (S
-      (S (S (S (S (S (S (S (S (S (S (S (S (S (S (S (S (S (S (S (S (S (S
-      O))))))))))))))))))))))))))))))))))))))))))))))))))))))))))))))))))))))))))))))))))))))))))))))
-      (String ((Ascii (true, false, true, false, false, false, true, false)),
-      (String ((Ascii (false, true, true, true, false, true, true, false)),
-      (String ((Ascii (false, false, true, false, true, true, true, false)),
-      (String ((Ascii (false, true, false, false, true, true, true, false)),
-      (String ((Ascii (true, false, false, true, true, true, true, false)),
-      (String ((Ascii (false, false, true, false, false, false, true,
-      false)), (String ((Ascii (true, false, true, false, false, true, true,
-      false)), (String ((Ascii (false, false, true, false, true, true, true,
-      false)), (String ((Ascii (true, false, false, false, false, true, true,
-      false)), (String ((Ascii (true, false, false, true, false, true, true,
-      false)), (String ((Ascii (false, false, true, true, false, true, true,
-      false)), (String ((Ascii (true, true, false, false, true, false, true,
-      false)), (String ((Ascii (true, false, true, false, false, true, true,
-      false)), (String ((Ascii (true, false, false, false, true, true, true,
-      false)), (String ((Ascii (true, false, true, false, true, true, true,
-      false)), (String ((Ascii (true, false, true, false, false, true, true,
-      false)), (String ((Ascii (false, true, true, true, false, true, true,
-      false)), (String ((Ascii (true, true, false, false, false, true, true,
-      false)), (String ((Ascii (true, false, true, false, false, true, true,
-      false)), (String ((Ascii (false, true, true, true, false, false, true,
-      false)), (String ((Ascii (true, false, true, false, true, true, true,
-      false)), (String ((Ascii (true, false, true, true, false, true, true,
-      false)), (String ((Ascii (false, true, false, false, false, true, true,
-      false)), (String ((Ascii (true, false, true, false, false, true, true,
-      false)), (String ((Ascii (false, true, false, false, true, true, true,
-      false)), EmptyString))))))))))))))))))))))))))))))))))))))))))))))))))
-      ((String ((Ascii (false, false, false, false, true, true, true,
-      false)), (String ((Ascii (true, false, false, false, false, true, true,
-      false)), (String ((Ascii (false, true, false, false, true, true, true,
-      false)), (String ((Ascii (true, true, false, false, true, true, true,
-      false)), (String ((Ascii (true, false, true, false, false, true, true,
-      false)), (String ((Ascii (false, true, true, true, false, false, true,
-      false)), (String ((Ascii (true, false, true, false, true, true, true,
-      false)), (String ((Ascii (true, false, true, true, false, true, true,
-      false)), (String ((Ascii (false, true, true, false, false, false, true,
-      false)), (String ((Ascii (true, false, false, true, false, true, true,
-      false)), (String ((Ascii (true, false, true, false, false, true, true,
-      false)), (String ((Ascii (false, false, true, true, false, true, true,
-      false)), (String ((Ascii (false, false, true, false, false, true, true,
-      false)), EmptyString)))))))))))))))))))))))))) :: [])) :: []))))))))) }
-
-(** val l_Addenda98 : layout **)
-
-let l_Addenda98 =
-  { l_name = (String ((Ascii (true, false, false, false, false, false, true,
-    false)), (String ((Ascii (false, false, true, false, false, true, true,
-    false)), (String ((Ascii (false, false, true, false, false, true, true,
-    false)), (String ((Ascii (true, false, true, false, false, true, true,
-    false)), (String ((Ascii (false, true, true, true, false, true, true,
-    false)), (String ((Ascii (false, false, true, false, false, true, true,
-    false)), (String ((Ascii (true, false, false, false, false, true, true,
-    false)), (String ((Ascii (true, false, false, true, true, true, false,
-    false)), (String ((Ascii (false, false, false, true, true, true, false,
-    false)), EmptyString)))))))))))))))))); l_ix = IRune; l_segs = ((SLit
-    ((Npos (XI (XI (XI (XO (XI XH)))))) :: [])) :: ((SRaw (String ((Ascii
-    (false, false, true, false, true, false, true, false)), (String ((Ascii
-    (true, false, false, true, true, true, true, false)), (String ((Ascii
-    (false, false, false, false, true, true, true, false)), (String ((Ascii
-    (true, false, true, false, false, true, true, false)), (String ((Ascii
-    (true, true, false, false, false, false, true, false)), (String ((Ascii
-    (true, true, true, true, false, true, true, false)), (String ((Ascii
-    (false, false, true, false, false, true, true, false)), (String ((Ascii
-    (true, false, true, false, false, true, true, false)),
-    EmptyString))))))))))))))))) :: ((SRaw (String ((Ascii (true, true,
-    false, false, false, false, true, false)), (String ((Ascii (false, false,
-    false, true, false, true, true, false)), (String ((Ascii (true, false,
-    false, false, false, true, true, false)), (String ((Ascii (false, true,
-    true, true, false, true, true, false)), (String ((Ascii (true, true,
-    true, false, false, true, true, false)), (String ((Ascii (true, false,
-    true, false, false, true, true, false)), (String ((Ascii (true, true,
-    false, false, false, false, true, false)), (String ((Ascii (true, true,
-    true, true, false, true, true, false)), (String ((Ascii (false, false,
-    true, false, false, true, true, false)), (String ((Ascii (true, false,
-    true, false, false, true, true, false)),
-    EmptyString))))))))))))))))))))) :: ((SStr ((String ((Ascii (true, true,
-    true, true, false, false, true, false)), (String ((Ascii (false, true,
-    false, false, true, true, true, false)), (String ((Ascii (true, false,
-    false, true, false, true, true, false)), (String ((Ascii (true, true,
-    true, false, false, true, true, false)), (String ((Ascii (true, false,
-    false, true, false, true, true, false)), (String ((Ascii (false, true,
-    true, true, false, true, true, false)), (String ((Ascii (true, false,
-    false, false, false, true, true, false)), (String ((Ascii (false, false,
-    true, true, false, true, true, false)), (String ((Ascii (false, false,
-    true, false, true, false, true, false)), (String ((Ascii (false, true,
-    false, false, true, true, true, false)), (String ((Ascii (true, false,
-    false, false, false, true, true, false)), (String ((Ascii (true, true,
-    false, false, false, true, true, false)), (String ((Ascii (true, false,
-    true, false, false, true, true, false)),
-    EmptyString)))))))))))))))))))))))))), (S (S (S (S (S (S (S (S (S (S (S
-    (S (S (S (S O))))))))))))))))) :: ((SLit ((Npos (XO (XO (XO (XO (XO
-    XH)))))) :: ((Npos (XO (XO (XO (XO (XO XH)))))) :: ((Npos (XO (XO (XO (XO
-    (XO XH)))))) :: ((Npos (XO (XO (XO (XO (XO XH)))))) :: ((Npos (XO (XO (XO
-    (XO (XO XH)))))) :: ((Npos (XO (XO (XO (XO (XO
-    XH)))))) :: []))))))) :: ((SStr ((String ((Ascii (true, true, true, true,
-    false, false, true, false)), (String ((Ascii (false, true, false, false,
-    true, true, true, false)), (String ((Ascii (true, false, false, true,
-    false, true, true, false)), (String ((Ascii (true, true, true, false,
-    false, true, true, false)), (String ((Ascii (true, false, false, true,
-    false, true, true, false)), (String ((Ascii (false, true, true, true,
-    false, true, true, false)), (String ((Ascii (true, false, false, false,
-    false, true, true, false)), (String ((Ascii (false, false, true, true,
-    false, true, true, false)), (String ((Ascii (false, false, true, false,
-    false, false, true, false)), (String ((Ascii (false, true, true, false,
-    false, false, true, false)), (String ((Ascii (true, false, false, true,
-    false, false, true, false)), EmptyString)))))))))))))))))))))), (S (S (S
-    (S (S (S (S (S O)))))))))) :: ((SCustom ((String ((Ascii (true, false,
-    false, false, false, false, true, false)), (String ((Ascii (false, false,
-    true, false, false, true, true, false)), (String ((Ascii (false, false,
-    true, false, false, true, true, false)), (String ((Ascii (true, false,
-    true, false, false, true, true, false)), (String ((Ascii (false, true,
-    true, true, false, true, true, false)), (String ((Ascii (false, false,
-    true, false, false, true, true, false)), (String ((Ascii (true, false,
-    false, false, false, true, true, false)), (String ((Ascii (true, false,
-    false, true, true, true, false, false)), (String ((Ascii (false, false,
-    false, true, true, true, false, false)), (String ((Ascii (false, true,
-    true, true, false, true, false, false)), (String ((Ascii (true, true,
-    false, false, false, false, true, false)), (String ((Ascii (true, true,
-    true, true, false, true, true, false)), (String ((Ascii (false, true,
-    false, false, true, true, true, false)), (String ((Ascii (false, true,
-    false, false, true, true, true, false)), (String ((Ascii (true, false,
-    true, false, false, true, true, false)), (String ((Ascii (true, true,
-    false, false, false, true, true, false)), (String ((Ascii (false, false,
-    true, false, true, true, true, false)), (String ((Ascii (true, false,
-    true, false, false, true, true, false)), (String ((Ascii (false, false,
-    true, false, false, true, true, false)), (String ((Ascii (false, false,
-    true, false, false, false, true, false)), (String ((Ascii (true, false,
-    false, false, false, true, true, false)), (String ((Ascii (false, false,
-    true, false, true, true, true, false)), (String ((Ascii (true, false,
-    false, false, false, true, true, false)), (String ((Ascii (false, true,
-    true, false, false, false, true, false)), (String ((Ascii (true, false,
-    false, true, false, true, true, false)), (String ((Ascii (true, false,
-    true, false, false, true, true, false)), (String ((Ascii (false, false,
-    true, true, false, true, true, false)), (String ((Ascii (false, false,
-    true, false, false, true, true, false)),
-    EmptyString)))))))))))))))))))))))))))))))))))))))))))))))))))))))),
-    (String ((Ascii (true, true, true, false, true, true, false, false)),
-    (String ((Ascii (false, true, false, false, false, true, true, false)),
-    (String ((Ascii (false, true, true, false, false, true, true, false)),
-    (String ((Ascii (true, false, false, true, true, true, false, false)),
-    (String ((Ascii (false, true, true, false, false, true, true, false)),
-    (String ((Ascii (true, true, false, false, false, true, true, false)),
-    (String ((Ascii (false, true, false, false, false, true, true, false)),
-    (String ((Ascii (false, true, false, false, true, true, false, false)),
-    (String ((Ascii (false, true, false, false, true, true, false, false)),
-    (String ((Ascii (true, false, true, false, true, true, false, false)),
-    (String ((Ascii (false, true, true, false, true, true, false, false)),
-    (String ((Ascii (false, false, true, false, true, true, false, false)),
-    EmptyString)))))))))))))))))))))))))) :: ((SLit ((Npos (XO (XO (XO (XO
-    (XO XH)))))) :: ((Npos (XO (XO (XO (XO (XO XH)))))) :: ((Npos (XO (XO (XO
-    (XO (XO XH)))))) :: ((Npos (XO (XO (XO (XO (XO XH)))))) :: ((Npos (XO (XO
-    (XO (XO (XO XH)))))) :: ((Npos (XO (XO (XO (XO (XO XH)))))) :: ((Npos (XO
-    (XO (XO (XO (XO XH)))))) :: ((Npos (XO (XO (XO (XO (XO XH)))))) :: ((Npos
-    (XO (XO (XO (XO (XO XH)))))) :: ((Npos (XO (XO (XO (XO (XO
-    XH)))))) :: ((Npos (XO (XO (XO (XO (XO XH)))))) :: ((Npos (XO (XO (XO (XO
-    (XO XH)))))) :: ((Npos (XO (XO (XO (XO (XO XH)))))) :: ((Npos (XO (XO (XO
-    (XO (XO XH)))))) :: ((Npos (XO (XO (XO (XO (XO
-    XH)))))) :: [])))))))))))))))) :: ((SStr ((String ((Ascii (false, false,
-    true, false, true, false, true, false)), (String ((Ascii (false, true,
-    false, false, true, true, true, false)), (String ((Ascii (true, false,
-    false, false, false, true, true, false)), (String ((Ascii (true, true,
-    false, false, false, true, true, false)), (String ((Ascii (true, false,
-    true, false, false, true, true, false)), (String ((Ascii (false, true,
-    true, true, false, false, true, false)), (String ((Ascii (true, false,
-    true, false, true, true, true, false)), (String ((Ascii (true, false,
-    true, true, false, true, true, false)), (String ((Ascii (false, true,
-    false, false, false, true, true, false)), (String ((Ascii (true, false,
-    true, false, false, true, true, false)), (String ((Ascii (false, true,
-    false, false, true, true, true, false)),
-    EmptyString)))))))))))))))))))))), (S (S (S (S (S (S (S (S (S (S (S (S (S
-    (S (S O))))))))))))))))) :: []))))))))); l_cuts =
-    ((mkcut O (S O) EmptyString []) :: ((mkcut (S O) (S (S (S O))) (String
-                                          ((Ascii (false, false, true, false,
-                                          true, false, true, false)), (String
-                                          ((Ascii (true, false, false, true,
-                                          true, true, true, false)), (String
-                                          ((Ascii (false, false, false,
-                                          false, true, true, true, false)),
-                                          (String ((Ascii (true, false, true,
-                                          false, false, true, true, false)),
-                                          (String ((Ascii (true, true, false,
-                                          false, false, false, true, false)),
-                                          (String ((Ascii (true, true, true,
-                                          true, false, true, true, false)),
-                                          (String ((Ascii (false, false,
-                                          true, false, false, true, true,
-                                          false)), (String ((Ascii (true,
-                                          false, true, false, false, true,
-                                          true, false)),
-                                          EmptyString)))))))))))))))) []) :: (
-    (mkcut (S (S (S O))) (S (S (S (S (S (S O)))))) (String ((Ascii (true,
-      true, false, false, false, false, true, false)), (String ((Ascii
-      (false, false, false, true, false, true, true, false)), (String ((Ascii
-      (true, false, false, false, false, true, true, false)), (String ((Ascii
-      (false, true, true, true, false, true, true, false)), (String ((Ascii
-      (true, true, true, false, false, true, true, false)), (String ((Ascii
-      (true, false, true, false, false, true, true, false)), (String ((Ascii
-      (true, true, false, false, false, false, true, false)), (String ((Ascii
-      (true, true, true, true, false, true, true, false)), (String ((Ascii
-      (false, false, true, false, false, true, true, false)), (String ((Ascii
-      (true, false, true, false, false, true, true, false)),
-      EmptyString)))))))))))))))))))) []) :: ((mkcut (S (S (S (S (S (S
-                                                O)))))) (S (S (S (S (S (S (S
-                                                (S (S (S (S (S (S (S (S (S (S
-                                                (S (S (S (S
-                                                O)))))))))))))))))))))
-                                                (String ((Ascii (true, true,
-                                                true, true, false, false,
-                                                true, false)), (String
-                                                ((Ascii (false, true, false,
-                                                false, true, true, true,
-                                                false)), (String ((Ascii
-                                                (true, false, false, true,
-                                                false, true, true, false)),
-                                                (String ((Ascii (true, true,
-                                                true, false, false, true,
-                                                true, false)), (String
-                                                ((Ascii (true, false, false,
-                                                true, false, true, true,
-                                                false)), (String ((Ascii
-                                                (false, true, true, true,
-                                                false, true, true, false)),
-                                                (String ((Ascii (true, false,
-                                                false, false, false, true,
-                                                true, false)), (String
-                                                ((Ascii (false, false, true,
-                                                true, false, true, true,
-                                                false)), (String ((Ascii
-                                                (false, false, true, false,
-                                                true, false, true, false)),
-                                                (String ((Ascii (false, true,
-                                                false, false, true, true,
-                                                true, false)), (String
-                                                ((Ascii (true, false, false,
-                                                false, false, true, true,
-                                                false)), (String ((Ascii
-                                                (true, true, false, false,
-                                                false, true, true, false)),
-                                                (String ((Ascii (true, false,
-                                                true, false, false, true,
-                                                true, false)),
-                                                EmptyString))))))))))))))))))))))))))
-                                                ((String ((Ascii (true, true,
-                                                false, false, true, true,
-                                                true, false)), (String
-                                                ((Ascii (false, false, true,
-                                                false, true, true, true,
-                                                false)), (String ((Ascii
-                                                (false, true, false, false,
-                                                true, true, true, false)),
-                                                (String ((Ascii (true, false,
-                                                false, true, false, true,
-                                                true, false)), (String
-                                                ((Ascii (false, true, true,
-                                                true, false, true, true,
-                                                false)), (String ((Ascii
-                                                (true, true, true, false,
-                                                false, true, true, false)),
-                                                (String ((Ascii (true, true,
-                                                false, false, true, true,
-                                                true, false)), (String
-                                                ((Ascii (false, true, true,
-                                                true, false, true, false,
-                                                false)), (String ((Ascii
-                                                (false, false, true, false,
-                                                true, false, true, false)),
-                                                (String ((Ascii (false, true,
-                                                false, false, true, true,
-                                                true, false)), (String
-                                                ((Ascii (true, false, false,
-                                                true, false, true, true,
-                                                false)), (String ((Ascii
-                                                (true, false, true, true,
-                                                false, true, true, false)),
-                                                (String ((Ascii (true, true,
-                                                false, false, true, false,
-                                                true, false)), (String
-                                                ((Ascii (false, false, false,
-                                                false, true, true, true,
-                                                false)), (String ((Ascii
-                                                (true, false, false, false,
-                                                false, true, true, false)),
-                                                (String ((Ascii (true, true,
-                                                false, false, false, true,
-                                                true, false)), (String
-                                                ((Ascii (true, false, true,
-                                                false, false, true, true,
-                                                false)),
-                                                EmptyString)))))))))))))))))))))))))))))))))) :: [])) :: (
-    (mkcut (S (S (S (S (S (S (S (S (S (S (S (S (S (S (S (S (S (S (S (S (S
-      O))))))))))))))))))))) (S (S (S (S (S (S (S (S (S (S (S (S (S (S (S (S
-      (S (S (S (S (S (S (S (S (S (S (S O)))))))))))))))))))))))))))
-      EmptyString []) :: ((mkcut (S (S (S (S (S (S (S (S (S (S (S (S (S (S (S
-                            (S (S (S (S (S (S (S (S (S (S (S (S
-                            O))))))))))))))))))))))))))) (S (S (S (S (S (S (S
-                            (S (S (S (S (S (S (S (S (S (S (S (S (S (S (S (S
-                            (S (S (S (S (S (S (S (S (S (S (S (S
-                            O))))))))))))))))))))))))))))))))))) (String
-                            ((Ascii (true, true, true, true, false, false,
-                            true, false)), (String ((Ascii (false, true,
-                            false, false, true, true, true, false)), (String
-                            ((Ascii (true, false, false, true, false, true,
-                            true, false)), (String ((Ascii (true, true, true,
-                            false, false, true, true, false)), (String
-                            ((Ascii (true, false, false, true, false, true,
-                            true, false)), (String ((Ascii (false, true,
-                            true, true, false, true, true, false)), (String
-                            ((Ascii (true, false, false, false, false, true,
-                            true, false)), (String ((Ascii (false, false,
-                            true, true, false, true, true, false)), (String
-                            ((Ascii (false, false, true, false, false, false,
-                            true, false)), (String ((Ascii (false, true,
-                            true, false, false, false, true, false)), (String
-                            ((Ascii (true, false, false, true, false, false,
-                            true, false)), EmptyString))))))))))))))))))))))
-                            ((String ((Ascii (false, false, false, false,
-                            true, true, true, false)), (String ((Ascii (true,
-                            false, false, false, false, true, true, false)),
-                            (String ((Ascii (false, true, false, false, true,
-                            true, true, false)), (String ((Ascii (true, true,
-                            false, false, true, true, true, false)), (String
-                            ((Ascii (true, false, true, false, false, true,
-                            true, false)), (String ((Ascii (true, true,
-                            false, false, true, false, true, false)), (String
-                            ((Ascii (false, false, true, false, true, true,
-                            true, false)), (String ((Ascii (false, true,
-                            false, false, true, true, true, false)), (String
-                            ((Ascii (true, false, false, true, false, true,
-                            true, false)), (String ((Ascii (false, true,
-                            true, true, false, true, true, false)), (String
-                            ((Ascii (true, true, true, false, false, true,
-                            true, false)), (String ((Ascii (false, true,
-                            true, false, false, false, true, false)), (String
-                            ((Ascii (true, false, false, true, false, true,
-                            true, false)), (String ((Ascii (true, false,
-                            true, false, false, true, true, false)), (String
-                            ((Ascii (false, false, true, true, false, true,
-                            true, false)), (String ((Ascii (false, false,
-                            true, false, false, true, true, false)),
-                            EmptyString)))))))))))))))))))))))))))))))) :: [])) :: (
-    (mkcut (S (S (S (S (S (S (S (S (S (S (S (S (S (S (S (S (S (S (S (S (S (S
-      (S (S (S (S (S (S (S (S (S (S (S (S (S
-      O))))))))))))))))))))))))))))))))))) (S (S (S (S (S (S (S (S (S (S (S
-      (S (S (S (S (S (S (S (S (S (S (S (S (S (S (S (S (S (S (S (S (S (S (S (S
-      (S (S (S (S (S (S (S (S (S (S (S (S (S (S (S (S (S (S (S (S (S (S (S (S
-      (S (S (S (S (S
-      O))))))))))))))))))))))))))))))))))))))))))))))))))))))))))))))))
-      (String ((Ascii (true, true, false, false, false, false, true, false)),
-      (String ((Ascii (true, true, true, true, false, true, true, false)),
-      (String ((Ascii (false, true, false, false, true, true, true, false)),
-      (String ((Ascii (false, true, false, false, true, true, true, false)),
-      (String ((Ascii (true, false, true, false, false, true, true, false)),
-      (String ((Ascii (true, true, false, false, false, true, true, false)),
-      (String ((Ascii (false, false, true, false, true, true, true, false)),
-      (String ((Ascii (true, false, true, false, false, true, true, false)),
-      (String ((Ascii (false, false, true, false, false, true, true, false)),
-      (String ((Ascii (false, false, true, false, false, false, true,
-      false)), (String ((Ascii (true, false, false, false, false, true, true,
-      false)), (String ((Ascii (false, false, true, false, true, true, true,
-      false)), (String ((Ascii (true, false, false, false, false, true, true,
-      false)), EmptyString)))))))))))))))))))))))))) ((String ((Ascii (true,
-      true, false, false, true, true, true, false)), (String ((Ascii (false,
-      false, true, false, true, true, true, false)), (String ((Ascii (false,
-      true, false, false, true, true, true, false)), (String ((Ascii (true,
-      false, false, true, false, true, true, false)), (String ((Ascii (false,
-      true, true, true, false, true, true, false)), (String ((Ascii (true,
-      true, true, false, false, true, true, false)), (String ((Ascii (true,
-      true, false, false, true, true, true, false)), (String ((Ascii (false,
-      true, true, true, false, true, false, false)), (String ((Ascii (false,
-      false, true, false, true, false, true, false)), (String ((Ascii (false,
-      true, false, false, true, true, true, false)), (String ((Ascii (true,
-      false, false, true, false, true, true, false)), (String ((Ascii (true,
-      false, true, true, false, true, true, false)), (String ((Ascii (true,
-      true, false, false, true, false, true, false)), (String ((Ascii (false,
-      false, false, false, true, true, true, false)), (String ((Ascii (true,
-      false, false, false, false, true, true, false)), (String ((Ascii (true,
-      true, false, false, false, true, true, false)), (String ((Ascii (true,
-      false, true, false, false, true, true, false)),
-      EmptyString)))))))))))))))))))))))))))))))))) :: [])) :: ((mkcut (S (S
-                                                                  (S (S (S (S
-                                                                  (S (S (S (S
-                                                                  (S (S (S (S
-                                                                  (S (S (S (S
-                                                                  (S (S (S (S
-                                                                  (S (S (S (S
-                                                                  (S (S (S (S
-                                                                  (S (S (S (S
-                                                                  (S (S (S (S
-                                                                  (S (S (S (S
-                                                                  (S (S (S (S
-                                                                  (S (S (S (S
-                                                                  (S (S (S (S
-                                                                  (S (S (S (S
-                                                                  (S (S (S (S
-                                                                  (S (S
-                                                                  O))))))))))))))))))))))))))))))))))))))))))))))))))))))))))))))))
-                                                                  (S (S (S (S
-                                                                  (S (S (S (S
-                                                                  (S (S (S (S
-                                                                  (S (S (S (S
-                                                                  (S (S (S (S
-                                                                  (S (S (S (S
-                                                                  (S (S (S (S
-                                                                  (S (S (S (S
-                                                                  (S (S (S (S
-                                                                  (S (S (S (S
-                                                                  (S (S (S (S
-                                                                  (S (S (S (S
-                                                                  (S (S (S (S
-                                                                  (S (S (S (S
-                                                                  (S (S (S (S
-                                                                  (S (S (S (S
-                                                                  (S (S (S (S
-                                                                  (S (S
-                                                                  O))))))))))))))))))))))))))))))))))))))))))))))))))))))))))))))))))))))
-                                                                  (String
-                                                                  ((Ascii
-                                                                  (true,
-                                                                  false,
-                                                                  false,
-                                                                  true,
-                                                                  false,
-                                                                  true, true,
-                                                                  false)),
-                                                                  (String
-                                                                  ((Ascii
-                                                                  (true,
-                                                                  false,
-                                                                  false,
-                                                                  false,
-                                                                  false,
-                                                                  true, true,
-                                                                  false)),
-                                                                  (String
-                                                                  ((Ascii
-                                                                  (false,
-                                                                  false,
-                                                                  true,
-                                                                  false,
-                                                                  true, true,
-                                                                  true,
-                                                                  false)),
-                                                                  (String
-                                                                  ((Ascii
-                                                                  (true,
-                                                                  true,
-                                                                  false,
-                                                                  false,
-                                                                  false,
-                                                                  false,
-                                                                  true,
-                                                                  false)),
-                                                                  (String
-                                                                  ((Ascii
-                                                                  (true,
-                                                                  true, true,
-                                                                  true,
-                                                                  false,
-                                                                  true, true,
-                                                                  false)),
-                                                                  (String
-                                                                  ((Ascii
-                                                                  (false,
-                                                                  true,
-                                                                  false,
-                                                                  false,
-                                                                  true, true,
-                                                                  true,
-                                                                  false)),
-                                                                  (String
-                                                                  ((Ascii
-                                                                  (false,
-                                                                  true,
-                                                                  false,
-                                                                  false,
-                                                                  true, true,
-                                                                  true,
-                                                                  false)),
-                                                                  (String
-                                                                  ((Ascii
-                                                                  (true,
-                                                                  false,
-                                                                  true,
-                                                                  false,
-                                                                  false,
-                                                                  true, true,
-                                                                  false)),
-                                                                  (String
-                                                                  ((Ascii
-                                                                  (true,
-                                                                  true,
-                                                                  false,
-                                                                  false,
-                                                                  false,
-                                                                  true, true,
-                                                                  false)),
-                                                                  (String
-                                                                  ((Ascii
-                                                                  (false,
-                                                                  false,
-                                                                  true,
-                                                                  false,
-                                                                  true, true,
-                                                                  true,
-                                                                  false)),
-                                                                  (String
-                                                                  ((Ascii
-                                                                  (true,
-                                                                  false,
-                                                                  true,
-                                                                  false,
-                                                                  false,
-                                                                  true, true,
-                                                                  false)),
-                                                                  (String
-                                                                  ((Ascii
-                                                                  (false,
-                                                                  false,
-                                                                  true,
-                                                                  false,
-                                                                  false,
-                                                                  true, true,
-                                                                  false)),
-                                                                  (String
-                                                                  ((Ascii
-                                                                  (false,
-                                                                  false,
-                                                                  true,
-                                                                  false,
-                                                                  false,
-                                                                  false,
-                                                                  true,
-                                                                  false)),
-                                                                  (String
-                                                                  ((Ascii
-                                                                  (true,
-                                                                  false,
-                                                                  false,
-                                                                  false,
-                                                                  false,
-                                                                  true, true,
-                                                                  false)),
-                                                                  (String
-                                                                  ((Ascii
-                                                                  (false,
-                                                                  false,
-                                                                  true,
-                                                                  false,
-                                                                  true, true,
-                                                                  true,
-                                                                  false)),
-                                                                  (String
-                                                                  ((Ascii
-                                                                  (true,
-                                                                  false,
-                                                                  false,
-                                                                  false,
-                                                                  false,
-                                                                  true, true,
-                                                                  false)),
-                                                                  EmptyString))))))))))))))))))))))))))))))))
-                                                                  ((String
-                                                                  ((Ascii
-                                                                  (true,
-                                                                  true,
-                                                                  false,
-                                                                  false,
-                                                                  true, true,
-                                                                  true,
-                                                                  false)),
-                                                                  (String
-                                                                  ((Ascii
-                                                                  (false,
-                                                                  false,
-                                                                  true,
-                                                                  false,
-                                                                  true, true,
-                                                                  true,
-                                                                  false)),
-                                                                  (String
-                                                                  ((Ascii
-                                                                  (false,
-                                                                  true,
-                                                                  false,
-                                                                  false,
-                                                                  true, true,
-                                                                  true,
-                                                                  false)),
-                                                                  (String
-                                                                  ((Ascii
-                                                                  (true,
-                                                                  false,
-                                                                  false,
-                                                                  true,
-                                                                  false,
-                                                                  true, true,
-                                                                  false)),
-                                                                  (String
-                                                                  ((Ascii
-                                                                  (false,
-                                                                  true, true,
-                                                                  true,
-                                                                  false,
-                                                                  true, true,
-                                                                  false)),
-                                                                  (String
-                                                                  ((Ascii
-                                                                  (true,
-                                                                  true, true,
-                                                                  false,
-                                                                  false,
-                                                                  true, true,
-                                                                  false)),
-                                                                  (String
-                                                                  ((Ascii
-                                                                  (true,
-                                                                  true,
-                                                                  false,
-                                                                  false,
-                                                                  true, true,
-                                                                  true,
-                                                                  false)),
-                                                                  (String
-                                                                  ((Ascii
-                                                                  (false,
-                                                                  true, true,
-                                                                  true,
-                                                                  false,
-                                                                  true,
-                                                                  false,
-                                                                  false)),
-                                                                  (String
-                                                                  ((Ascii
-                                                                  (false,
-                                                                  false,
-                                                                  true,
-                                                                  false,
-                                                                  true,
-                                                                  false,
-                                                                  true,
-                                                                  false)),
-                                                                  (String
-                                                                  ((Ascii
-                                                                  (false,
-                                                                  true,
-                                                                  false,
-                                                                  false,
-                                                                  true, true,
-                                                                  true,
-                                                                  false)),
-                                                                  (String
-                                                                  ((Ascii
-                                                                  (true,
-                                                                  false,
-                                                                  false,
-                                                                  true,
-                                                                  false,
-                                                                  true, true,
-                                                                  false)),
-                                                                  (String
-                                                                  ((Ascii
-                                                                  (true,
-                                                                  false,
-                                                                  true, true,
-                                                                  false,
-                                                                  true, true,
-                                                                  false)),
-                                                                  (String
-                                                                  ((Ascii
-                                                                  (true,
-                                                                  true,
-                                                                  false,
-                                                                  false,
-                                                                  true,
-                                                                  false,
-                                                                  true,
-                                                                  false)),
-                                                                  (String
-                                                                  ((Ascii
-                                                                  (false,
-                                                                  false,
-                                                                  false,
-                                                                  false,
-                                                                  true, true,
-                                                                  true,
-                                                                  false)),
-                                                                  (String
-                                                                  ((Ascii
-                                                                  (true,
-                                                                  false,
-                                                                  false,
-                                                                  false,
-                                                                  false,
-                                                                  true, true,
-                                                                  false)),
-                                                                  (String
-                                                                  ((Ascii
-                                                                  (true,
-                                                                  true,
-                                                                  false,
-                                                                  false,
-                                                                  false,
-                                                                  true, true,
-                                                                  false)),
-                                                                  (String
-                                                                  ((Ascii
-                                                                  (true,
-                                                                  false,
-                                                                  true,
-                                                                  false,
-                                                                  false,
-                                                                  true, true,
-                                                                  false)),
-                                                                  EmptyString)))))))))))))))))))))))))))))))))) :: [])) :: (
-    (mkcut (S (S (S (S (S (S (S (S (S (S (S (S (S (S (S (S (S (S (S (S (S (S
-      (S (S (S (S (S (S (S (S (S (S (S (S (S (S (S (S (S (S (S (S (S (S (S (S
-      (S (S (S (S (S (S (S (S (S (S (S (S (S (S (S (S (S (S (S (S (S (S (S (S
-      O))))))))))))))))))))))))))))))))))))))))))))))))))))))))))))))))))))))
-      (S (S (S (S (S (S (S (S (S (S (S (S (S (S (S (S (S (S (S (S (S (S (S (S
-      (S (S (S (S (S (S (S (S (S (S (S (S (S (S (S (S (S (S (S (S (S (S (S (S
-      (S (S (S (S (S (S (S (S (S (S (S (S (S (S (S (S (S (S (S (S (S (S (S (S
-      (S (S (S (S (S (S (S
-      O)))))))))))))))))))))))))))))))))))))))))))))))))))))))))))))))))))))))))))))))
-      EmptyString []) :: ((mkcut (S (S (S (S (S (S (S (S (S (S (S (S (S (S (S
-                            (S (S (S (S (S (S (S (S (S (S (S (S (S (S (S (S
-                            (S (S (S (S (S (S (S (S (S (S (S (S (S (S (S (S
-                            (S (S (S (S (S (S (S (S (S (S (S (S (S (S (S (S
-                            (S (S (S (S (S (S (S (S (S (S (S (S (S (S (S (S
-                            O)))))))))))))))))))))))))))))))))))))))))))))))))))))))))))))))))))))))))))))))
-                            (S (S (S (S (S (S (S (S (S (S (S (S (S (S (S (S
-                            (S (S (S (S (S (S (S (S (S (S (S (S (S (S (S (S
-                            (S (S (S (S (S (S (S (S (S (S (S (S (S (S (S (S
-                            (S (S (S (S (S (S (S (S (S (S (S (S (S (S (S (S
-                            (S (S (S (S (S (S (S (S (S (S (S (S (S (S (S (S
-                            (S (S (S (S (S (S (S (S (S (S (S (S (S (S
-                            O))))))))))))))))))))))))))))))))))))))))))))))))))))))))))))))))))))))))))))))))))))))))))))))
-                            (String ((Ascii (false, false, true, false, true,
-                            false, true, false)), (String ((Ascii (false,
-                            true, false, false, true, true, true, false)),
-                            (String ((Ascii (true, false, false, false,
-                            false, true, true, false)), (String ((Ascii
-                            (true, true, false, false, false, true, true,
-                            false)), (String ((Ascii (true, false, true,
-                            false, false, true, true, false)), (String
-                            ((Ascii (false, true, true, true, false, false,
-                            true, false)), (String ((Ascii (true, false,
-                            true, false, true, true, true, false)), (String
-                            ((Ascii (true, false, true, true, false, true,
-                            true, false)), (String ((Ascii (false, true,
-                            false, false, false, true, true, false)), (String
-                            ((Ascii (true, false, true, false, false, true,
-                            true, false)), (String ((Ascii (false, true,
-                            false, false, true, true, true, false)),
-                            EmptyString)))))))))))))))))))))) ((String
-                            ((Ascii (true, true, false, false, true, true,
-                            true, false)), (String ((Ascii (false, false,
-                            true, false, true, true, true, false)), (String
-                            ((Ascii (false, true, false, false, true, true,
-                            true, false)), (String ((Ascii (true, false,
-                            false, true, false, true, true, false)), (String
-                            ((Ascii (false, true, true, true, false, true,
-                            true, false)), (String ((Ascii (true, true, true,
-                            false, false, true, true, false)), (String
-                            ((Ascii (true, true, false, false, true, true,
-                            true, false)), (String ((Ascii (false, true,
-                            true, true, false, true, false, false)), (String
-                            ((Ascii (false, false, true, false, true, false,
-                            true, false)), (String ((Ascii (false, true,
-                            false, false, true, true, true, false)), (String
-                            ((Ascii (true, false, false, true, false, true,
-                            true, false)), (String ((Ascii (true, false,
-                            true, true, false, true, true, false)), (String
-                            ((Ascii (true, true, false, false, true, false,
-                            true, false)), (String ((Ascii (false, false,
-                            false, false, true, true, true, false)), (String
-                            ((Ascii (true, false, false, false, false, true,
-                            true, false)), (String ((Ascii (true, true,
-                            false, false, false, true, true, false)), (String
-                            ((Ascii (true, false, true, false, false, true,
-                            true, false)),
-                            EmptyString)))))))))))))))))))))))))))))))))) :: [])) :: [])))))))))) }
-
-(** val l_Addenda98Refused : layout **)
-
-let l_Addenda98Refused =
-  { l_name = (String ((Ascii (true, false, false, false, false, false, true,
-    false)), (String ((Ascii (false, false, true, false, false, true, true,
-    false)), (String ((Ascii (false, false, true, false, false, true, true,
-    false)), (String ((Ascii (true, false, true, false, false, true, true,
-    false)), (String ((Ascii (false, true, true, true, false, true, true,
-    false)), (String ((Ascii (false, false, true, false, false, true, true,
-    false)), (String ((Ascii (true, false, false, false, false, true, true,
-    false)), (String ((Ascii (true, false, false, true, true, true, false,
-    false)), (String ((Ascii (false, false, false, true, true, true, false,
-    false)), (String ((Ascii (false, true, false, false, true, false, true,
-    false)), (String ((Ascii (true, false, true, false, false, true, true,
-    false)), (String ((Ascii (false, true, true, false, false, true, true,
-    false)), (String ((Ascii (true, false, true, false, true, true, true,
-    false)), (String ((Ascii (true, true, false, false, true, true, true,
-    false)), (String ((Ascii (true, false, true, false, false, true, true,
-    false)), (String ((Ascii (false, false, true, false, false, true, true,
-    false)), EmptyString)))))))))))))))))))))))))))))))); l_ix = IRune;
-    l_segs = ((SLit ((Npos (XI (XI (XI (XO (XI XH)))))) :: [])) :: ((SRaw
-    (String ((Ascii (false, false, true, false, true, false, true, false)),
-    (String ((Ascii (true, false, false, true, true, true, true, false)),
-    (String ((Ascii (false, false, false, false, true, true, true, false)),
-    (String ((Ascii (true, false, true, false, false, true, true, false)),
-    (String ((Ascii (true, true, false, false, false, false, true, false)),
-    (String ((Ascii (true, true, true, true, false, true, true, false)),
-    (String ((Ascii (false, false, true, false, false, true, true, false)),
-    (String ((Ascii (true, false, true, false, false, true, true, false)),
-    EmptyString))))))))))))))))) :: ((SRaw (String ((Ascii (false, true,
-    false, false, true, false, true, false)), (String ((Ascii (true, false,
-    true, false, false, true, true, false)), (String ((Ascii (false, true,
-    true, false, false, true, true, false)), (String ((Ascii (true, false,
-    true, false, true, true, true, false)), (String ((Ascii (true, true,
-    false, false, true, true, true, false)), (String ((Ascii (true, false,
-    true, false, false, true, true, false)), (String ((Ascii (false, false,
-    true, false, false, true, true, false)), (String ((Ascii (true, true,
-    false, false, false, false, true, false)), (String ((Ascii (false, false,
-    false, true, false, true, true, false)), (String ((Ascii (true, false,
-    false, false, false, true, true, false)), (String ((Ascii (false, true,
-    true, true, false, true, true, false)), (String ((Ascii (true, true,
-    true, false, false, true, true, false)), (String ((Ascii (true, false,
-    true, false, false, true, true, false)), (String ((Ascii (true, true,
-    false, false, false, false, true, false)), (String ((Ascii (true, true,
-    true, true, false, true, true, false)), (String ((Ascii (false, false,
-    true, false, false, true, true, false)), (String ((Ascii (true, false,
-    true, false, false, true, true, false)),
-    EmptyString))))))))))))))))))))))))))))))))))) :: ((SStr ((String ((Ascii
-    (true, true, true, true, false, false, true, false)), (String ((Ascii
-    (false, true, false, false, true, true, true, false)), (String ((Ascii
-    (true, false, false, true, false, true, true, false)), (String ((Ascii
-    (true, true, true, false, false, true, true, false)), (String ((Ascii
-    (true, false, false, true, false, true, true, false)), (String ((Ascii
-    (false, true, true, true, false, true, true, false)), (String ((Ascii
-    (true, false, false, false, false, true, true, false)), (String ((Ascii
-    (false, false, true, true, false, true, true, false)), (String ((Ascii
-    (false, false, true, false, true, false, true, false)), (String ((Ascii
-    (false, true, false, false, true, true, true, false)), (String ((Ascii
-    (true, false, false, false, false, true, true, false)), (String ((Ascii
-    (true, true, false, false, false, true, true, false)), (String ((Ascii
-    (true, false, true, false, false, true, true, false)),
-    EmptyString)))))))))))))))))))))))))), (S (S (S (S (S (S (S (S (S (S (S
-    (S (S (S (S O))))))))))))))))) :: ((SLit ((Npos (XO (XO (XO (XO (XO
-    XH)))))) :: ((Npos (XO (XO (XO (XO (XO XH)))))) :: ((Npos (XO (XO (XO (XO
-    (XO XH)))))) :: ((Npos (XO (XO (XO (XO (XO XH)))))) :: ((Npos (XO (XO (XO
-    (XO (XO XH)))))) :: ((Npos (XO (XO (XO (XO (XO
-    XH)))))) :: []))))))) :: ((SStr ((String ((Ascii (true, true, true, true,
-    false, false, true, false)), (String ((Ascii (false, true, false, false,
-    true, true, true, false)), (String ((Ascii (true, false, false, true,
-    false, true, true, false)), (String ((Ascii (true, true, true, false,
-    false, true, true, false)), (String ((Ascii (true, false, false, true,
-    false, true, true, false)), (String ((Ascii (false, true, true, true,
-    false, true, true, false)), (String ((Ascii (true, false, false, false,
-    false, true, true, false)), (String ((Ascii (false, false, true, true,
-    false, true, true, false)), (String ((Ascii (false, false, true, false,
-    false, false, true, false)), (String ((Ascii (false, true, true, false,
-    false, false, true, false)), (String ((Ascii (true, false, false, true,
-    false, false, true, false)), EmptyString)))))))))))))))))))))), (S (S (S
-    (S (S (S (S (S O)))))))))) :: ((SAlpha ((String ((Ascii (true, true,
-    false, false, false, false, true, false)), (String ((Ascii (true, true,
-    true, true, false, true, true, false)), (String ((Ascii (false, true,
-    false, false, true, true, true, false)), (String ((Ascii (false, true,
-    false, false, true, true, true, false)), (String ((Ascii (true, false,
-    true, false, false, true, true, false)), (String ((Ascii (true, true,
-    false, false, false, true, true, false)), (String ((Ascii (false, false,
-    true, false, true, true, true, false)), (String ((Ascii (true, false,
-    true, false, false, true, true, false)), (String ((Ascii (false, false,
-    true, false, false, true, true, false)), (String ((Ascii (false, false,
-    true, false, false, false, true, false)), (String ((Ascii (true, false,
-    false, false, false, true, true, false)), (String ((Ascii (false, false,
-    true, false, true, true, true, false)), (String ((Ascii (true, false,
-    false, false, false, true, true, false)),
-    EmptyString)))))))))))))))))))))))))), (S (S (S (S (S (S (S (S (S (S (S
-    (S (S (S (S (S (S (S (S (S (S (S (S (S (S (S (S (S (S
-    O))))))))))))))))))))))))))))))) :: ((SRaw (String ((Ascii (true, true,
-    false, false, false, false, true, false)), (String ((Ascii (false, false,
-    false, true, false, true, true, false)), (String ((Ascii (true, false,
-    false, false, false, true, true, false)), (String ((Ascii (false, true,
-    true, true, false, true, true, false)), (String ((Ascii (true, true,
-    true, false, false, true, true, false)), (String ((Ascii (true, false,
-    true, false, false, true, true, false)), (String ((Ascii (true, true,
-    false, false, false, false, true, false)), (String ((Ascii (true, true,
-    true, true, false, true, true, false)), (String ((Ascii (false, false,
-    true, false, false, true, true, false)), (String ((Ascii (true, false,
-    true, false, false, true, true, false)),
-    EmptyString))))))))))))))))))))) :: ((SStr ((String ((Ascii (false,
-    false, true, false, true, false, true, false)), (String ((Ascii (false,
-    true, false, false, true, true, true, false)), (String ((Ascii (true,
-    false, false, false, false, true, true, false)), (String ((Ascii (true,
-    true, false, false, false, true, true, false)), (String ((Ascii (true,
-    false, true, false, false, true, true, false)), (String ((Ascii (true,
-    true, false, false, true, false, true, false)), (String ((Ascii (true,
-    false, true, false, false, true, true, false)), (String ((Ascii (true,
-    false, false, false, true, true, true, false)), (String ((Ascii (true,
-    false, true, false, true, true, true, false)), (String ((Ascii (true,
-    false, true, false, false, true, true, false)), (String ((Ascii (false,
-    true, true, true, false, true, true, false)), (String ((Ascii (true,
-    true, false, false, false, true, true, false)), (String ((Ascii (true,
-    false, true, false, false, true, true, false)), (String ((Ascii (false,
-    true, true, true, false, false, true, false)), (String ((Ascii (true,
-    false, true, false, true, true, true, false)), (String ((Ascii (true,
-    false, true, true, false, true, true, false)), (String ((Ascii (false,
-    true, false, false, false, true, true, false)), (String ((Ascii (true,
-    false, true, false, false, true, true, false)), (String ((Ascii (false,
-    true, false, false, true, true, true, false)),
-    EmptyString)))))))))))))))))))))))))))))))))))))), (S (S (S (S (S (S (S
-    O))))))))) :: ((SLit ((Npos (XO (XO (XO (XO (XO XH)))))) :: ((Npos (XO
-    (XO (XO (XO (XO XH)))))) :: ((Npos (XO (XO (XO (XO (XO XH)))))) :: ((Npos
-    (XO (XO (XO (XO (XO XH)))))) :: ((Npos (XO (XO (XO (XO (XO
-    XH)))))) :: [])))))) :: ((SStr ((String ((Ascii (false, false, true,
-    false, true, false, true, false)), (String ((Ascii (false, true, false,
-    false, true, true, true, false)), (String ((Ascii (true, false, false,
-    false, false, true, true, false)), (String ((Ascii (true, true, false,
-    false, false, true, true, false)), (String ((Ascii (true, false, true,
-    false, false, true, true, false)), (String ((Ascii (false, true, true,
-    true, false, false, true, false)), (String ((Ascii (true, false, true,
-    false, true, true, true, false)), (String ((Ascii (true, false, true,
-    true, false, true, true, false)), (String ((Ascii (false, true, false,
-    false, false, true, true, false)), (String ((Ascii (true, false, true,
-    false, false, true, true, false)), (String ((Ascii (false, true, false,
-    false, true, true, true, false)), EmptyString)))))))))))))))))))))), (S
-    (S (S (S (S (S (S (S (S (S (S (S (S (S (S
-    O))))))))))))))))) :: []))))))))))); l_cuts =
-    ((mkcut O (S O) EmptyString []) :: ((mkcut (S O) (S (S (S O))) (String
-                                          ((Ascii (false, false, true, false,
-                                          true, false, true, false)), (String
-                                          ((Ascii (true, false, false, true,
-                                          true, true, true, false)), (String
-                                          ((Ascii (false, false, false,
-                                          false, true, true, true, false)),
-                                          (String ((Ascii (true, false, true,
-                                          false, false, true, true, false)),
-                                          (String ((Ascii (true, true, false,
-                                          false, false, false, true, false)),
-                                          (String ((Ascii (true, true, true,
-                                          true, false, true, true, false)),
-                                          (String ((Ascii (false, false,
-                                          true, false, false, true, true,
-                                          false)), (String ((Ascii (true,
-                                          false, true, false, false, true,
-                                          true, false)),
-                                          EmptyString))))))))))))))))
-                                          ((String ((Ascii (true, true,
-                                          false, false, true, true, true,
-                                          false)), (String ((Ascii (false,
-                                          false, true, false, true, true,
-                                          true, false)), (String ((Ascii
-                                          (false, true, false, false, true,
-                                          true, true, false)), (String
-                                          ((Ascii (true, false, false, true,
-                                          false, true, true, false)), (String
-                                          ((Ascii (false, true, true, true,
-                                          false, true, true, false)), (String
-                                          ((Ascii (true, true, true, false,
-                                          false, true, true, false)), (String
-                                          ((Ascii (true, true, false, false,
-                                          true, true, true, false)), (String
-                                          ((Ascii (false, true, true, true,
-                                          false, true, false, false)),
-                                          (String ((Ascii (false, false,
-                                          true, false, true, false, true,
-                                          false)), (String ((Ascii (false,
-                                          true, false, false, true, true,
-                                          true, false)), (String ((Ascii
-                                          (true, false, false, true, false,
-                                          true, true, false)), (String
-                                          ((Ascii (true, false, true, true,
-                                          false, true, true, false)), (String
-                                          ((Ascii (true, true, false, false,
-                                          true, false, true, false)), (String
-                                          ((Ascii (false, false, false,
-                                          false, true, true, true, false)),
-                                          (String ((Ascii (true, false,
-                                          false, false, false, true, true,
-                                          false)), (String ((Ascii (true,
-                                          true, false, false, false, true,
-                                          true, false)), (String ((Ascii
-                                          (true, false, true, false, false,
-                                          true, true, false)),
-                                          EmptyString)))))))))))))))))))))))))))))))))) :: [])) :: (
-    (mkcut (S (S (S O))) (S (S (S (S (S (S O)))))) (String ((Ascii (false,
-      true, false, false, true, false, true, false)), (String ((Ascii (true,
-      false, true, false, false, true, true, false)), (String ((Ascii (false,
-      true, true, false, false, true, true, false)), (String ((Ascii (true,
-      false, true, false, true, true, true, false)), (String ((Ascii (true,
-      true, false, false, true, true, true, false)), (String ((Ascii (true,
-      false, true, false, false, true, true, false)), (String ((Ascii (false,
-      false, true, false, false, true, true, false)), (String ((Ascii (true,
-      true, false, false, false, false, true, false)), (String ((Ascii
-      (false, false, false, true, false, true, true, false)), (String ((Ascii
-      (true, false, false, false, false, true, true, false)), (String ((Ascii
-      (false, true, true, true, false, true, true, false)), (String ((Ascii
-      (true, true, true, false, false, true, true, false)), (String ((Ascii
-      (true, false, true, false, false, true, true, false)), (String ((Ascii
-      (true, true, false, false, false, false, true, false)), (String ((Ascii
-      (true, true, true, true, false, true, true, false)), (String ((Ascii
-      (false, false, true, false, false, true, true, false)), (String ((Ascii
-      (true, false, true, false, false, true, true, false)),
-      EmptyString)))))))))))))))))))))))))))))))))) ((String ((Ascii (true,
-      true, false, false, true, true, true, false)), (String ((Ascii (false,
-      false, true, false, true, true, true, false)), (String ((Ascii (false,
-      true, false, false, true, true, true, false)), (String ((Ascii (true,
-      false, false, true, false, true, true, false)), (String ((Ascii (false,
-      true, true, true, false, true, true, false)), (String ((Ascii (true,
-      true, true, false, false, true, true, false)), (String ((Ascii (true,
-      true, false, false, true, true, true, false)), (String ((Ascii (false,
-      true, true, true, false, true, false, false)), (String ((Ascii (false,
-      false, true, false, true, false, true, false)), (String ((Ascii (false,
-      true, false, false, true, true, true, false)), (String ((Ascii (true,
-      false, false, true, false, true, true, false)), (String ((Ascii (true,
-      false, true, true, false, true, true, false)), (String ((Ascii (true,
-      true, false, false, true, false, true, false)), (String ((Ascii (false,
-      false, false, false, true, true, true, false)), (String ((Ascii (true,
-      false, false, false, false, true, true, false)), (String ((Ascii (true,
-      true, false, false, false, true, true, false)), (String ((Ascii (true,
-      false, true, false, false, true, true, false)),
-      EmptyString)))))))))))))))))))))))))))))))))) :: [])) :: ((mkcut (S (S
-                                                                  (S (S (S (S
-                                                                  O)))))) (S
-                                                                  (S (S (S (S
-                                                                  (S (S (S (S
-                                                                  (S (S (S (S
-                                                                  (S (S (S (S
-                                                                  (S (S (S (S
-                                                                  O)))))))))))))))))))))
-                                                                  (String
-                                                                  ((Ascii
-                                                                  (true,
-                                                                  true, true,
-                                                                  true,
-                                                                  false,
-                                                                  false,
-                                                                  true,
-                                                                  false)),
-                                                                  (String
-                                                                  ((Ascii
-                                                                  (false,
-                                                                  true,
-                                                                  false,
-                                                                  false,
-                                                                  true, true,
-                                                                  true,
-                                                                  false)),
-                                                                  (String
-                                                                  ((Ascii
-                                                                  (true,
-                                                                  false,
-                                                                  false,
-                                                                  true,
-                                                                  false,
-                                                                  true, true,
-                                                                  false)),
-                                                                  (String
-                                                                  ((Ascii
-                                                                  (true,
-                                                                  true, true,
-                                                                  false,
-                                                                  false,
-                                                                  true, true,
-                                                                  false)),
-                                                                  (String
-                                                                  ((Ascii
-                                                                  (true,
-                                                                  false,
-                                                                  false,
-                                                                  true,
-                                                                  false,
-                                                                  true, true,
-                                                                  false)),
-                                                                  (String
-                                                                  ((Ascii
-                                                                  (false,
-                                                                  true, true,
-                                                                  true,
-                                                                  false,
-                                                                  true, true,
-                                                                  false)),
-                                                                  (String
-                                                                  ((Ascii
-                                                                  (true,
-                                                                  false,
-                                                                  false,
-                                                                  false,
-                                                                  false,
-                                                                  true, true,
-                                                                  false)),
-                                                                  (String
-                                                                  ((Ascii
-                                                                  (false,
-                                                                  false,
-                                                                  true, true,
-                                                                  false,
-                                                                  true, true,
-                                                                  false)),
-                                                                  (String
-                                                                  ((Ascii
-                                                                  (false,
-                                                                  false,
-                                                                  true,
-                                                                  false,
-                                                                  true,
-                                                                  false,
-                                                                  true,
-                                                                  false)),
-                                                                  (String
-                                                                  ((Ascii
-                                                                  (false,
-                                                                  true,
-                                                                  false,
-                                                                  false,
-                                                                  true, true,
-                                                                  true,
-                                                                  false)),
-                                                                  (String
-                                                                  ((Ascii
-                                                                  (true,
-                                                                  false,
-                                                                  false,
-                                                                  false,
-                                                                  false,
-                                                                  true, true,
-                                                                  false)),
-                                                                  (String
-                                                                  ((Ascii
-                                                                  (true,
-                                                                  true,
-                                                                  false,
-                                                                  false,
-                                                                  false,
-                                                                  true, true,
-                                                                  false)),
-                                                                  (String
-                                                                  ((Ascii
-                                                                  (true,
-                                                                  false,
-                                                                  true,
-                                                                  false,
-                                                                  false,
-                                                                  true, true,
-                                                                  false)),
-                                                                  EmptyString))))))))))))))))))))))))))
-                                                                  ((String
-                                                                  ((Ascii
-                                                                  (true,
-                                                                  true,
-                                                                  false,
-                                                                  false,
-                                                                  true, true,
-                                                                  true,
-                                                                  false)),
-                                                                  (String
-                                                                  ((Ascii
-                                                                  (false,
-                                                                  false,
-                                                                  true,
-                                                                  false,
-                                                                  true, true,
-                                                                  true,
-                                                                  false)),
-                                                                  (String
-                                                                  ((Ascii
-                                                                  (false,
-                                                                  true,
-                                                                  false,
-                                                                  false,
-                                                                  true, true,
-                                                                  true,
-                                                                  false)),
-                                                                  (String
-                                                                  ((Ascii
-                                                                  (true,
-                                                                  false,
-                                                                  false,
-                                                                  true,
-                                                                  false,
-                                                                  true, true,
-                                                                  false)),
-                                                                  (String
-                                                                  ((Ascii
-                                                                  (false,
-                                                                  true, true,
-                                                                  true,
-                                                                  false,
-                                                                  true, true,
-                                                                  false)),
-                                                                  (String
-                                                                  ((Ascii
-                                                                  (true,
-                                                                  true, true,
-                                                                  false,
-                                                                  false,
-                                                                  true, true,
-                                                                  false)),
-                                                                  (String
-                                                                  ((Ascii
-                                                                  (true,
-                                                                  true,
-                                                                  false,
-                                                                  false,
-                                                                  true, true,
-                                                                  true,
-                                                                  false)),
-                                                                  (String
-                                                                  ((Ascii
-                                                                  (false,
-                                                                  true, true,
-                                                                  true,
-                                                                  false,
-                                                                  true,
-                                                                  false,
-                                                                  false)),
-                                                                  (String
-                                                                  ((Ascii
-                                                                  (false,
-                                                                  false,
-                                                                  true,
-                                                                  false,
-                                                                  true,
-                                                                  false,
-                                                                  true,
-                                                                  false)),
-                                                                  (String
-                                                                  ((Ascii
-                                                                  (false,
-                                                                  true,
-                                                                  false,
-                                                                  false,
-                                                                  true, true,
-                                                                  true,
-                                                                  false)),
-                                                                  (String
-                                                                  ((Ascii
-                                                                  (true,
-                                                                  false,
-                                                                  false,
-                                                                  true,
-                                                                  false,
-                                                                  true, true,
-                                                                  false)),
-                                                                  (String
-                                                                  ((Ascii
-                                                                  (true,
-                                                                  false,
-                                                                  true, true,
-                                                                  false,
-                                                                  true, true,
-                                                                  false)),
-                                                                  (String
-                                                                  ((Ascii
-                                                                  (true,
-                                                                  true,
-                                                                  false,
-                                                                  false,
-                                                                  true,
-                                                                  false,
-                                                                  true,
-                                                                  false)),
-                                                                  (String
-                                                                  ((Ascii
-                                                                  (false,
-                                                                  false,
-                                                                  false,
-                                                                  false,
-                                                                  true, true,
-                                                                  true,
-                                                                  false)),
-                                                                  (String
-                                                                  ((Ascii
-                                                                  (true,
-                                                                  false,
-                                                                  false,
-                                                                  false,
-                                                                  false,
-                                                                  true, true,
-                                                                  false)),
-                                                                  (String
-                                                                  ((Ascii
-                                                                  (true,
-                                                                  true,
-                                                                  false,
-                                                                  false,
-                                                                  false,
-                                                                  true, true,
-                                                                  false)),
-                                                                  (String
-                                                                  ((Ascii
-                                                                  (true,
-                                                                  false,
-                                                                  true,
-                                                                  false,
-                                                                  false,
-                                                                  true, true,
-                                                                  false)),
-                                                                  EmptyString)))))))))))))))))))))))))))))))))) :: [])) :: (
-    (mkcut (S (S (S (S (S (S (S (S (S (S (S (S (S (S (S (S (S (S (S (S (S
-      O))))))))))))))))))))) (S (S (S (S (S (S (S (S (S (S (S (S (S (S (S (S
-      (S (S (S (S (S (S (S (S (S (S (S O)))))))))))))))))))))))))))
-      EmptyString []) :: ((mkcut (S (S (S (S (S (S (S (S (S (S (S (S (S (S (S
-                            (S (S (S (S (S (S (S (S (S (S (S (S
-                            O))))))))))))))))))))))))))) (S (S (S (S (S (S (S
-                            (S (S (S (S (S (S (S (S (S (S (S (S (S (S (S (S
-                            (S (S (S (S (S (S (S (S (S (S (S (S
-                            O))))))))))))))))))))))))))))))))))) (String
-                            ((Ascii (true, true, true, true, false, false,
-                            true, false)), (String ((Ascii (false, true,
-                            false, false, true, true, true, false)), (String
-                            ((Ascii (true, false, false, true, false, true,
-                            true, false)), (String ((Ascii (true, true, true,
-                            false, false, true, true, false)), (String
-                            ((Ascii (true, false, false, true, false, true,
-                            true, false)), (String ((Ascii (false, true,
-                            true, true, false, true, true, false)), (String
-                            ((Ascii (true, false, false, false, false, true,
-                            true, false)), (String ((Ascii (false, false,
-                            true, true, false, true, true, false)), (String
-                            ((Ascii (false, false, true, false, false, false,
-                            true, false)), (String ((Ascii (false, true,
-                            true, false, false, false, true, false)), (String
-                            ((Ascii (true, false, false, true, false, false,
-                            true, false)), EmptyString))))))))))))))))))))))
-                            ((String ((Ascii (false, false, false, false,
-                            true, true, true, false)), (String ((Ascii (true,
-                            false, false, false, false, true, true, false)),
-                            (String ((Ascii (false, true, false, false, true,
-                            true, true, false)), (String ((Ascii (true, true,
-                            false, false, true, true, true, false)), (String
-                            ((Ascii (true, false, true, false, false, true,
-                            true, false)), (String ((Ascii (true, true,
-                            false, false, true, false, true, false)), (String
-                            ((Ascii (false, false, true, false, true, true,
-                            true, false)), (String ((Ascii (false, true,
-                            false, false, true, true, true, false)), (String
-                            ((Ascii (true, false, false, true, false, true,
-                            true, false)), (String ((Ascii (false, true,
-                            true, true, false, true, true, false)), (String
-                            ((Ascii (true, true, true, false, false, true,
-                            true, false)), (String ((Ascii (false, true,
-                            true, false, false, false, true, false)), (String
-                            ((Ascii (true, false, false, true, false, true,
-                            true, false)), (String ((Ascii (true, false,
-                            true, false, false, true, true, false)), (String
-                            ((Ascii (false, false, true, true, false, true,
-                            true, false)), (String ((Ascii (false, false,
-                            true, false, false, true, true, false)),
-                            EmptyString)))))))))))))))))))))))))))))))) :: [])) :: (
-    (mkcut (S (S (S (S (S (S (S (S (S (S (S (S (S (S (S (S (S (S (S (S (S (S
-      (S (S (S (S (S (S (S (S (S (S (S (S (S
-      O))))))))))))))))))))))))))))))))))) (S (S (S (S (S (S (S (S (S (S (S
-      (S (S (S (S (S (S (S (S (S (S (S (S (S (S (S (S (S (S (S (S (S (S (S (S
-      (S (S (S (S (S (S (S (S (S (S (S (S (S (S (S (S (S (S (S (S (S (S (S (S
-      (S (S (S (S (S
-      O))))))))))))))))))))))))))))))))))))))))))))))))))))))))))))))))
-      (String ((Ascii (true, true, false, false, false, false, true, false)),
-      (String ((Ascii (true, true, true, true, false, true, true, false)),
-      (String ((Ascii (false, true, false, false, true, true, true, false)),
-      (String ((Ascii (false, true, false, false, true, true, true, false)),
-      (String ((Ascii (true, false, true, false, false, true, true, false)),
-      (String ((Ascii (true, true, false, false, false, true, true, false)),
-      (String ((Ascii (false, false, true, false, true, true, true, false)),
-      (String ((Ascii (true, false, true, false, false, true, true, false)),
-      (String ((Ascii (false, false, true, false, false, true, true, false)),
-      (String ((Ascii (false, false, true, false, false, false, true,
-      false)), (String ((Ascii (true, false, false, false, false, true, true,
-      false)), (String ((Ascii (false, false, true, false, true, true, true,
-      false)), (String ((Ascii (true, false, false, false, false, true, true,
-      false)), EmptyString)))))))))))))))))))))))))) ((String ((Ascii (true,
-      true, false, false, true, true, true, false)), (String ((Ascii (false,
-      false, true, false, true, true, true, false)), (String ((Ascii (false,
-      true, false, false, true, true, true, false)), (String ((Ascii (true,
-      false, false, true, false, true, true, false)), (String ((Ascii (false,
-      true, true, true, false, true, true, false)), (String ((Ascii (true,
-      true, true, false, false, true, true, false)), (String ((Ascii (true,
-      true, false, false, true, true, true, false)), (String ((Ascii (false,
-      true, true, true, false, true, false, false)), (String ((Ascii (false,
-      false, true, false, true, false, true, false)), (String ((Ascii (false,
-      true, false, false, true, true, true, false)), (String ((Ascii (true,
-      false, false, true, false, true, true, false)), (String ((Ascii (true,
-      false, true, true, false, true, true, false)), (String ((Ascii (true,
-      true, false, false, true, false, true, false)), (String ((Ascii (false,
-      false, false, false, true, true, true, false)), (String ((Ascii (true,
-      false, false, false, false, true, true, false)), (String ((Ascii (true,
-      true, false, false, false, true, true, false)), (String ((Ascii (true,
-      false, true, false, false, true, true, false)),
-      EmptyString)))))))))))))))))))))))))))))))))) :: [])) :: ((mkcut (S (S
-                                                                  (S (S (S (S
-                                                                  (S (S (S (S
-                                                                  (S (S (S (S
-                                                                  (S (S (S (S
-                                                                  (S (S (S (S
-                                                                  (S (S (S (S
-                                                                  (S (S (S (S
-                                                                  (S (S (S (S
-                                                                  (S (S (S (S
-                                                                  (S (S (S (S
-                                                                  (S (S (S (S
-                                                                  (S (S (S (S
-                                                                  (S (S (S (S
-                                                                  (S (S (S (S
-                                                                  (S (S (S (S
-                                                                  (S (S
-                                                                  O))))))))))))))))))))))))))))))))))))))))))))))))))))))))))))))))
-                                                                  (S (S (S (S
-                                                                  (S (S (S (S
-                                                                  (S (S (S (S
-                                                                  (S (S (S (S
-                                                                  (S (S (S (S
-                                                                  (S (S (S (S
-                                                                  (S (S (S (S
-                                                                  (S (S (S (S
-                                                                  (S (S (S (S
-                                                                  (S (S (S (S
-                                                                  (S (S (S (S
-                                                                  (S (S (S (S
-                                                                  (S (S (S (S
-                                                                  (S (S (S (S
-                                                                  (S (S (S (S
-                                                                  (S (S (S (S
-                                                                  (S (S (S
-                                                                  O)))))))))))))))))))))))))))))))))))))))))))))))))))))))))))))))))))
-                                                                  (String
-                                                                  ((Ascii
-                                                                  (true,
-                                                                  true,
-                                                                  false,
-                                                                  false,
-                                                                  false,
-                                                                  false,
-                                                                  true,
-                                                                  false)),
-                                                                  (String
-                                                                  ((Ascii
-                                                                  (false,
-                                                                  false,
-                                                                  false,
-                                                                  true,
-                                                                  false,
-                                                                  true, true,
-                                                                  false)),
-                                                                  (String
-                                                                  ((Ascii
-                                                                  (true,
-                                                                  false,
-                                                                  false,
-                                                                  false,
-                                                                  false,
-                                                                  true, true,
-                                                                  false)),
-                                                                  (String
-                                                                  ((Ascii
-                                                                  (false,
-                                                                  true, true,
-                                                                  true,
-                                                                  false,
-                                                                  true, true,
-                                                                  false)),
-                                                                  (String
-                                                                  ((Ascii
-                                                                  (true,
-                                                                  true, true,
-                                                                  false,
-                                                                  false,
-                                                                  true, true,
-                                                                  false)),
-                                                                  (String
-                                                                  ((Ascii
-                                                                  (true,
-                                                                  false,
-                                                                  true,
-                                                                  false,
-                                                                  false,
-                                                                  true, true,
-                                                                  false)),
-                                                                  (String
-                                                                  ((Ascii
-                                                                  (true,
-                                                                  true,
-                                                                  false,
-                                                                  false,
-                                                                  false,
-                                                                  false,
-                                                                  true,
-                                                                  false)),
-                                                                  (String
-                                                                  ((Ascii
-                                                                  (true,
-                                                                  true, true,
-                                                                  true,
-                                                                  false,
-                                                                  true, true,
-                                                                  false)),
-                                                                  (String
-                                                                  ((Ascii
-                                                                  (false,
-                                                                  false,
-                                                                  true,
-                                                                  false,
-                                                                  false,
-                                                                  true, true,
-                                                                  false)),
-                                                                  (String
-                                                                  ((Ascii
-                                                                  (true,
-                                                                  false,
-                                                                  true,
-                                                                  false,
-                                                                  false,
-                                                                  true, true,
-                                                                  false)),
-                                                                  EmptyString))))))))))))))))))))
-                                                                  ((String
-                                                                  ((Ascii
-                                                                  (true,
-                                                                  true,
-                                                                  false,
-                                                                  false,
-                                                                  true, true,
-                                                                  true,
-                                                                  false)),
-                                                                  (String
-                                                                  ((Ascii
-                                                                  (false,
-                                                                  false,
-                                                                  true,
-                                                                  false,
-                                                                  true, true,
-                                                                  true,
-                                                                  false)),
-                                                                  (String
-                                                                  ((Ascii
-                                                                  (false,
-                                                                  true,
-                                                                  false,
-                                                                  false,
-                                                                  true, true,
-                                                                  true,
-                                                                  false)),
-                                                                  (String
-                                                                  ((Ascii
-                                                                  (true,
-                                                                  false,
-                                                                  false,
-                                                                  true,
-                                                                  false,
-                                                                  true, true,
-                                                                  false)),
-                                                                  (String
-                                                                  ((Ascii
-                                                                  (false,
-                                                                  true, true,
-                                                                  true,
-                                                                  false,
-                                                                  true, true,
-                                                                  false)),
-                                                                  (String
-                                                                  ((Ascii
-                                                                  (true,
-                                                                  true, true,
-                                                                  false,
-                                                                  false,
-                                                                  true, true,
-                                                                  false)),
-                                                                  (String
-                                                                  ((Ascii
-                                                                  (true,
-                                                                  true,
-                                                                  false,
-                                                                  false,
-                                                                  true, true,
-                                                                  true,
-                                                                  false)),
-                                                                  (String
-                                                                  ((Ascii
-                                                                  (false,
-                                                                  true, true,
-                                                                  true,
-                                                                  false,
-                                                                  true,
-                                                                  false,
-                                                                  false)),
-                                                                  (String
-                                                                  ((Ascii
-                                                                  (false,
-                                                                  false,
-                                                                  true,
-                                                                  false,
-                                                                  true,
-                                                                  false,
-                                                                  true,
-                                                                  false)),
-                                                                  (String
-                                                                  ((Ascii
-                                                                  (false,
-                                                                  true,
-                                                                  false,
-                                                                  false,
-                                                                  true, true,
-                                                                  true,
-                                                                  false)),
-                                                                  (String
-                                                                  ((Ascii
-                                                                  (true,
-                                                                  false,
-                                                                  false,
-                                                                  true,
-                                                                  false,
-                                                                  true, true,
-                                                                  false)),
-                                                                  (String
-                                                                  ((Ascii
-                                                                  (true,
-                                                                  false,
-                                                                  true, true,
-                                                                  false,
-                                                                  true, true,
-                                                                  false)),
-                                                                  (String
-                                                                  ((Ascii
-                                                                  (true,
-                                                                  true,
-                                                                  false,
-                                                                  false,
-                                                                  true,
-                                                                  false,
-                                                                  true,
-                                                                  false)),
-                                                                  (String
-                                                                  ((Ascii
-                                                                  (false,
-                                                                  false,
-                                                                  false,
-                                                                  false,
-                                                                  true, true,
-                                                                  true,
-                                                                  false)),
-                                                                  (String
-                                                                  ((Ascii
-                                                                  (true,
-                                                                  false,
-                                                                  false,
-                                                                  false,
-                                                                  false,
-                                                                  true, true,
-                                                                  false)),
-                                                                  (String
-                                                                  ((Ascii
-                                                                  (true,
-                                                                  true,
-                                                                  false,
-                                                                  false,
-                                                                  false,
-                                                                  true, true,
-                                                                  false)),
-                                                                  (String
-                                                                  ((Ascii
-                                                                  (true,
-                                                                  false,
-                                                                  true,
-                                                                  false,
-                                                                  false,
-                                                                  true, true,
-                                                                  false)),
-                                                                  EmptyString)))))))))))))))))))))))))))))))))) :: [])) :: (
-    (mkcut (S (S (S (S (S (S (S (S (S (S (S (S (S (S (S (S (S (S (S (S (S (S
-      (S (S (S (S (S (S (S (S (S (S (S (S (S (S (S (S (S (S (S (S (S (S (S (S
-      (S (S (S (S (S (S (S (S (S (S (S (S (S (S (S (S (S (S (S (S (S
-      O))))))))))))))))))))))))))))))))))))))))))))))))))))))))))))))))))) (S
-      (S (S (S (S (S (S (S (S (S (S (S (S (S (S (S (S (S (S (S (S (S (S (S (S
-      (S (S (S (S (S (S (S (S (S (S (S (S (S (S (S (S (S (S (S (S (S (S (S (S
-      (S (S (S (S (S (S (S (S (S (S (S (S (S (S (S (S (S (S (S (S (S (S (S (S
-      (S
-      O))))))))))))))))))))))))))))))))))))))))))))))))))))))))))))))))))))))))))
-      (String ((Ascii (false, false, true, false, true, false, true, false)),
-      (String ((Ascii (false, true, false, false, true, true, true, false)),
-      (String ((Ascii (true, false, false, false, false, true, true, false)),
-      (String ((Ascii (true, true, false, false, false, true, true, false)),
-      (String ((Ascii (true, false, true, false, false, true, true, false)),
-      (String ((Ascii (true, true, false, false, true, false, true, false)),
-      (String ((Ascii (true, false, true, false, false, true, true, false)),
-      (String ((Ascii (true, false, false, false, true, true, true, false)),
-      (String ((Ascii (true, false, true, false, true, true, true, false)),
-      (String ((Ascii (true, false, true, false, false, true, true, false)),
-      (String ((Ascii (false, true, true, true, false, true, true, false)),
-      (String ((Ascii (true, true, false, false, false, true, true, false)),
-      (String ((Ascii (true, false, true, false, false, true, true, false)),
-      (String ((Ascii (false, true, true, true, false, false, true, false)),
-      (String ((Ascii (true, false, true, false, true, true, true, false)),
-      (String ((Ascii (true, false, true, true, false, true, true, false)),
-      (String ((Ascii (false, true, false, false, false, true, true, false)),
-      (String ((Ascii (true, false, true, false, false, true, true, false)),
-      (String ((Ascii (false, true, false, false, true, true, true, false)),
-      EmptyString)))))))))))))))))))))))))))))))))))))) ((String ((Ascii
-      (true, true, false, false, true, true, true, false)), (String ((Ascii
-      (false, false, true, false, true, true, true, false)), (String ((Ascii
-      (false, true, false, false, true, true, true, false)), (String ((Ascii
-      (true, false, false, true, false, true, true, false)), (String ((Ascii
-      (false, true, true, true, false, true, true, false)), (String ((Ascii
-      (true, true, true, false, false, true, true, false)), (String ((Ascii
-      (true, true, false, false, true, true, true, false)), (String ((Ascii
-      (false, true, true, true, false, true, false, false)), (String ((Ascii
-      (false, false, true, false, true, false, true, false)), (String ((Ascii
-      (false, true, false, false, true, true, true, false)), (String ((Ascii
-      (true, false, false, true, false, true, true, false)), (String ((Ascii
-      (true, false, true, true, false, true, true, false)), (String ((Ascii
-      (true, true, false, false, true, false, true, false)), (String ((Ascii
-      (false, false, false, false, true, true, true, false)), (String ((Ascii
-      (true, false, false, false, false, true, true, false)), (String ((Ascii
-      (true, true, false, false, false, true, true, false)), (String ((Ascii
-      (true, false, true, false, false, true, true, false)),
-      EmptyString)))))))))))))))))))))))))))))))))) :: [])) :: ((mkcut (S (S
-                                                                  (S (S (S (S
-                                                                  (S (S (S (S
-                                                                  (S (S (S (S
-                                                                  (S (S (S (S
-                                                                  (S (S (S (S
-                                                                  (S (S (S (S
-                                                                  (S (S (S (S
-                                                                  (S (S (S (S
-                                                                  (S (S (S (S
-                                                                  (S (S (S (S
-                                                                  (S (S (S (S
-                                                                  (S (S (S (S
-                                                                  (S (S (S (S
-                                                                  (S (S (S (S
-                                                                  (S (S (S (S
-                                                                  (S (S (S (S
-                                                                  (S (S (S (S
-                                                                  (S (S (S (S
-                                                                  O))))))))))))))))))))))))))))))))))))))))))))))))))))))))))))))))))))))))))
-                                                                  (S (S (S (S
-                                                                  (S (S (S (S
-                                                                  (S (S (S (S
-                                                                  (S (S (S (S
-                                                                  (S (S (S (S
-                                                                  (S (S (S (S
-                                                                  (S (S (S (S
-                                                                  (S (S (S (S
-                                                                  (S (S (S (S
-                                                                  (S (S (S (S
-                                                                  (S (S (S (S
-                                                                  (S (S (S (S
-                                                                  (S (S (S (S
-                                                                  (S (S (S (S
-                                                                  (S (S (S (S
-                                                                  (S (S (S (S
-                                                                  (S (S (S (S
-                                                                  (S (S (S (S
-                                                                  (S (S (S (S
-                                                                  (S (S (S
-                                                                  O)))))))))))))))))))))))))))))))))))))))))))))))))))))))))))))))))))))))))))))))
-                                                                  EmptyString
-                                                                  []) :: (
-    (mkcut (S (S (S (S (S (S (S (S (S (S (S (S (S (S (S (S (S (S (S (S (S (S
-      (S (S (S (S (S (S (S (S (S (S (S (S (S (S (S (S (S (S (S (S (S (S (S (S
-      (S (S (S (S (S (S (S (S (S (S (S (S (S (S (S (S (S (S (S (S (S (S (S (S
-      (S (S (S (S (S (S (S (S (S
-      O)))))))))))))))))))))))))))))))))))))))))))))))))))))))))))))))))))))))))))))))
-      (S (S (S (S (S (S (S (S (S (S (S (S (S (S (S (S (S (S (S (S (S (S (S (S
-      (S (S (S (S (S (S (S (S (S (S (S (S (S (S (S (S (S (S (S (S (S (S (S (S
-      (S (S (S (S (S (S (S (S (S (S (S (S (S (S (S (S (S (S (S (S (S (S (S (S
-      (S (S (S (S (S (S (S (S (S (S (S (S (S (S (S (S (S (S (S (S (S (S
-      O))))))))))))))))))))))))))))))))))))))))))))))))))))))))))))))))))))))))))))))))))))))))))))))
-      (String ((Ascii (false, false, true, false, true, false, true, false)),
-      (String ((Ascii (false, true, false, false, true, true, true, false)),
-      (String ((Ascii (true, false, false, false, false, true, true, false)),
-      (String ((Ascii (true, true, false, false, false, true, true, false)),
-      (String ((Ascii (true, false, true, false, false, true, true, false)),
-      (String ((Ascii (false, true, true, true, false, false, true, false)),
-      (String ((Ascii (true, false, true, false, true, true, true, false)),
-      (String ((Ascii (true, false, true, true, false, true, true, false)),
-      (String ((Ascii (false, true, false, false, false, true, true, false)),
-      (String ((Ascii (true, false, true, false, false, true, true, false)),
-      (String ((Ascii (false, true, false, false, true, true, true, false)),
-      EmptyString)))))))))))))))))))))) ((String ((Ascii (true, true, false,
-      false, true, true, true, false)), (String ((Ascii (false, false, true,
-      false, true, true, true, false)), (String ((Ascii (false, true, false,
-      false, true, true, true, false)), (String ((Ascii (true, false, false,
-      true, false, true, true, false)), (String ((Ascii (false, true, true,
-      true, false, true, true, false)), (String ((Ascii (true, true, true,
-      false, false, true, true, false)), (String ((Ascii (true, true, false,
-      false, true, true, true, false)), (String ((Ascii (false, true, true,
-      true, false, true, false, false)), (String ((Ascii (false, false, true,
-      false, true, false, true, false)), (String ((Ascii (false, true, false,
-      false, true, true, true, false)), (String ((Ascii (true, false, false,
-      true, false, true, true, false)), (String ((Ascii (true, false, true,
-      true, false, true, true, false)), (String ((Ascii (true, true, false,
-      false, true, false, true, false)), (String ((Ascii (false, false,
-      false, false, true, true, true, false)), (String ((Ascii (true, false,
-      false, false, false, true, true, false)), (String ((Ascii (true, true,
-      false, false, false, true, true, false)), (String ((Ascii (true, false,
-      true, false, false, true, true, false)),
-      EmptyString)))))))))))))))))))))))))))))))))) :: [])) :: []))))))))))) }
-
-(** val l_Addenda99 : layout **)
-
-let l_Addenda99 =
-  { l_name = (String ((Ascii (true, false, false, false, false, false, true,
-    false)), (String ((Ascii (false, false, true, false, false, true, true,
-    false)), (String ((Ascii (false, false, true, false, false, true, true,
-    false)), (String ((Ascii (true, false, true, false, false, true, true,
-    false)), (String ((Ascii (false, true, true, true, false, true, true,
-    false)), (String ((Ascii (false, false, true, false, false, true, true,
-    false)), (String ((Ascii (true, false, false, false, false, true, true,
-    false)), (String ((Ascii (true, false, false, true, true, true, false,
-    false)), (String ((Ascii (true, false, false, true, true, true, false,
-    false)), EmptyString)))))))))))))))))); l_ix = IRune; l_segs = ((SLit
-    ((Npos (XI (XI (XI (XO (XI XH)))))) :: [])) :: ((SRaw (String ((Ascii
-    (false, false, true, false, true, false, true, false)), (String ((Ascii
-    (true, false, false, true, true, true, true, false)), (String ((Ascii
-    (false, false, false, false, true, true, true, false)), (String ((Ascii
-    (true, false, true, false, false, true, true, false)), (String ((Ascii
-    (true, true, false, false, false, false, true, false)), (String ((Ascii
-    (true, true, true, true, false, true, true, false)), (String ((Ascii
-    (false, false, true, false, false, true, true, false)), (String ((Ascii
-    (true, false, true, false, false, true, true, false)),
-    EmptyString))))))))))))))))) :: ((SRaw (String ((Ascii (false, true,
-    false, false, true, false, true, false)), (String ((Ascii (true, false,
-    true, false, false, true, true, false)), (String ((Ascii (false, false,
-    true, false, true, true, true, false)), (String ((Ascii (true, false,
-    true, false, true, true, true, false)), (String ((Ascii (false, true,
-    false, false, true, true, true, false)), (String ((Ascii (false, true,
-    true, true, false, true, true, false)), (String ((Ascii (true, true,
-    false, false, false, false, true, false)), (String ((Ascii (true, true,
-    true, true, false, true, true, false)), (String ((Ascii (false, false,
-    true, false, false, true, true, false)), (String ((Ascii (true, false,
-    true, false, false, true, true, false)),
-    EmptyString))))))))))))))))))))) :: ((SStr ((String ((Ascii (true, true,
-    true, true, false, false, true, false)), (String ((Ascii (false, true,
-    false, false, true, true, true, false)), (String ((Ascii (true, false,
-    false, true, false, true, true, false)), (String ((Ascii (true, true,
-    true, false, false, true, true, false)), (String ((Ascii (true, false,
-    false, true, false, true, true, false)), (String ((Ascii (false, true,
-    true, true, false, true, true, false)), (String ((Ascii (true, false,
-    false, false, false, true, true, false)), (String ((Ascii (false, false,
-    true, true, false, true, true, false)), (String ((Ascii (false, false,
-    true, false, true, false, true, false)), (String ((Ascii (false, true,
-    false, false, true, true, true, false)), (String ((Ascii (true, false,
-    false, false, false, true, true, false)), (String ((Ascii (true, true,
-    false, false, false, true, true, false)), (String ((Ascii (true, false,
-    true, false, false, true, true, false)),
-    EmptyString)))))))))))))))))))))))))), (S (S (S (S (S (S (S (S (S (S (S
-    (S (S (S (S O))))))))))))))))) :: ((SCustom ((String ((Ascii (true,
-    false, false, false, false, false, true, false)), (String ((Ascii (false,
-    false, true, false, false, true, true, false)), (String ((Ascii (false,
-    false, true, false, false, true, true, false)), (String ((Ascii (true,
-    false, true, false, false, true, true, false)), (String ((Ascii (false,
-    true, true, true, false, true, true, false)), (String ((Ascii (false,
-    false, true, false, false, true, true, false)), (String ((Ascii (true,
-    false, false, false, false, true, true, false)), (String ((Ascii (true,
-    false, false, true, true, true, false, false)), (String ((Ascii (true,
-    false, false, true, true, true, false, false)), (String ((Ascii (false,
-    true, true, true, false, true, false, false)), (String ((Ascii (false,
-    false, true, false, false, false, true, false)), (String ((Ascii (true,
-    false, false, false, false, true, true, false)), (String ((Ascii (false,
-    false, true, false, true, true, true, false)), (String ((Ascii (true,
-    false, true, false, false, true, true, false)), (String ((Ascii (true,
-    true, true, true, false, false, true, false)), (String ((Ascii (false,
-    true, true, false, false, true, true, false)), (String ((Ascii (false,
-    false, true, false, false, false, true, false)), (String ((Ascii (true,
-    false, true, false, false, true, true, false)), (String ((Ascii (true,
-    false, false, false, false, true, true, false)), (String ((Ascii (false,
-    false, true, false, true, true, true, false)), (String ((Ascii (false,
-    false, false, true, false, true, true, false)), (String ((Ascii (false,
-    true, true, false, false, false, true, false)), (String ((Ascii (true,
-    false, false, true, false, true, true, false)), (String ((Ascii (true,
-    false, true, false, false, true, true, false)), (String ((Ascii (false,
-    false, true, true, false, true, true, false)), (String ((Ascii (false,
-    false, true, false, false, true, true, false)),
-    EmptyString)))))))))))))))))))))))))))))))))))))))))))))))))))), (String
-    ((Ascii (true, true, false, false, true, true, false, false)), (String
-    ((Ascii (true, false, true, false, false, true, true, false)), (String
-    ((Ascii (false, true, false, false, true, true, false, false)), (String
-    ((Ascii (false, false, false, true, true, true, false, false)), (String
-    ((Ascii (true, false, true, false, true, true, false, false)), (String
-    ((Ascii (true, false, true, false, false, true, true, false)), (String
-    ((Ascii (true, true, true, false, true, true, false, false)), (String
-    ((Ascii (false, false, false, true, true, true, false, false)), (String
-    ((Ascii (true, false, false, true, true, true, false, false)), (String
-    ((Ascii (true, false, true, false, false, true, true, false)), (String
-    ((Ascii (true, false, true, false, true, true, false, false)), (String
-    ((Ascii (false, false, true, false, true, true, false, false)),
-    EmptyString)))))))))))))))))))))))))) :: ((SStr ((String ((Ascii (true,
-    true, true, true, false, false, true, false)), (String ((Ascii (false,
-    true, false, false, true, true, true, false)), (String ((Ascii (true,
-    false, false, true, false, true, true, false)), (String ((Ascii (true,
-    true, true, false, false, true, true, false)), (String ((Ascii (true,
-    false, false, true, false, true, true, false)), (String ((Ascii (false,
-    true, true, true, false, true, true, false)), (String ((Ascii (true,
-    false, false, false, false, true, true, false)), (String ((Ascii (false,
-    false, true, true, false, true, true, false)), (String ((Ascii (false,
-    false, true, false, false, false, true, false)), (String ((Ascii (false,
-    true, true, false, false, false, true, false)), (String ((Ascii (true,
-    false, false, true, false, false, true, false)),
-    EmptyString)))))))))))))))))))))), (S (S (S (S (S (S (S (S
-    O)))))))))) :: ((SAlpha ((String ((Ascii (true, false, false, false,
-    false, false, true, false)), (String ((Ascii (false, false, true, false,
-    false, true, true, false)), (String ((Ascii (false, false, true, false,
-    false, true, true, false)), (String ((Ascii (true, false, true, false,
-    false, true, true, false)), (String ((Ascii (false, true, true, true,
-    false, true, true, false)), (String ((Ascii (false, false, true, false,
-    false, true, true, false)), (String ((Ascii (true, false, false, false,
-    false, true, true, false)), (String ((Ascii (true, false, false, true,
-    false, false, true, false)), (String ((Ascii (false, true, true, true,
-    false, true, true, false)), (String ((Ascii (false, true, true, false,
-    false, true, true, false)), (String ((Ascii (true, true, true, true,
-    false, true, true, false)), (String ((Ascii (false, true, false, false,
-    true, true, true, false)), (String ((Ascii (true, false, true, true,
-    false, true, true, false)), (String ((Ascii (true, false, false, false,
-    false, true, true, false)), (String ((Ascii (false, false, true, false,
-    true, true, true, false)), (String ((Ascii (true, false, false, true,
-    false, true, true, false)), (String ((Ascii (true, true, true, true,
-    false, true, true, false)), (String ((Ascii (false, true, true, true,
-    false, true, true, false)),
-    EmptyString)))))))))))))))))))))))))))))))))))), (S (S (S (S (S (S (S (S
-    (S (S (S (S (S (S (S (S (S (S (S (S (S (S (S (S (S (S (S (S (S (S (S (S
-    (S (S (S (S (S (S (S (S (S (S (S (S
-    O)))))))))))))))))))))))))))))))))))))))))))))) :: ((SStr ((String
-    ((Ascii (false, false, true, false, true, false, true, false)), (String
-    ((Ascii (false, true, false, false, true, true, true, false)), (String
-    ((Ascii (true, false, false, false, false, true, true, false)), (String
-    ((Ascii (true, true, false, false, false, true, true, false)), (String
-    ((Ascii (true, false, true, false, false, true, true, false)), (String
-    ((Ascii (false, true, true, true, false, false, true, false)), (String
-    ((Ascii (true, false, true, false, true, true, true, false)), (String
-    ((Ascii (true, false, true, true, false, true, true, false)), (String
-    ((Ascii (false, true, false, false, false, true, true, false)), (String
-    ((Ascii (true, false, true, false, false, true, true, false)), (String
-    ((Ascii (false, true, false, false, true, true, true, false)),
-    EmptyString)))))))))))))))))))))), (S (S (S (S (S (S (S (S (S (S (S (S (S
-    (S (S O))))))))))))))))) :: [])))))))); l_cuts =
-    ((mkcut O (S O) EmptyString []) :: ((mkcut (S O) (S (S (S O))) (String
-                                          ((Ascii (false, false, true, false,
-                                          true, false, true, false)), (String
-                                          ((Ascii (true, false, false, true,
-                                          true, true, true, false)), (String
-                                          ((Ascii (false, false, false,
-                                          false, true, true, true, false)),
-                                          (String ((Ascii (true, false, true,
-                                          false, false, true, true, false)),
-                                          (String ((Ascii (true, true, false,
-                                          false, false, false, true, false)),
-                                          (String ((Ascii (true, true, true,
-                                          true, false, true, true, false)),
-                                          (String ((Ascii (false, false,
-                                          true, false, false, true, true,
-                                          false)), (String ((Ascii (true,
-                                          false, true, false, false, true,
-                                          true, false)),
-                                          EmptyString)))))))))))))))) []) :: (
-    (mkcut (S (S (S O))) (S (S (S (S (S (S O)))))) (String ((Ascii (false,
-      true, false, false, true, false, true, false)), (String ((Ascii (true,
-      false, true, false, false, true, true, false)), (String ((Ascii (false,
-      false, true, false, true, true, true, false)), (String ((Ascii (true,
-      false, true, false, true, true, true, false)), (String ((Ascii (false,
-      true, false, false, true, true, true, false)), (String ((Ascii (false,
-      true, true, true, false, true, true, false)), (String ((Ascii (true,
-      true, false, false, false, false, true, false)), (String ((Ascii (true,
-      true, true, true, false, true, true, false)), (String ((Ascii (false,
-      false, true, false, false, true, true, false)), (String ((Ascii (true,
-      false, true, false, false, true, true, false)),
-      EmptyString)))))))))))))))))))) []) :: ((mkcut (S (S (S (S (S (S
-                                                O)))))) (S (S (S (S (S (S (S
-                                                (S (S (S (S (S (S (S (S (S (S
-                                                (S (S (S (S
-                                                O)))))))))))))))))))))
-                                                (String ((Ascii (true, true,
-                                                true, true, false, false,
-                                                true, false)), (String
-                                                ((Ascii (false, true, false,
-                                                false, true, true, true,
-                                                false)), (String ((Ascii
-                                                (true, false, false, true,
-                                                false, true, true, false)),
-                                                (String ((Ascii (true, true,
-                                                true, false, false, true,
-                                                true, false)), (String
-                                                ((Ascii (true, false, false,
-                                                true, false, true, true,
-                                                false)), (String ((Ascii
-                                                (false, true, true, true,
-                                                false, true, true, false)),
-                                                (String ((Ascii (true, false,
-                                                false, false, false, true,
-                                                true, false)), (String
-                                                ((Ascii (false, false, true,
-                                                true, false, true, true,
-                                                false)), (String ((Ascii
-                                                (false, false, true, false,
-                                                true, false, true, false)),
-                                                (String ((Ascii (false, true,
-                                                false, false, true, true,
-                                                true, false)), (String
-                                                ((Ascii (true, false, false,
-                                                false, false, true, true,
-                                                false)), (String ((Ascii
-                                                (true, true, false, false,
-                                                false, true, true, false)),
-                                                (String ((Ascii (true, false,
-                                                true, false, false, true,
-                                                true, false)),
-                                                EmptyString))))))))))))))))))))))))))
-                                                ((String ((Ascii (true, true,
-                                                false, false, true, true,
-                                                true, false)), (String
-                                                ((Ascii (false, false, true,
-                                                false, true, true, true,
-                                                false)), (String ((Ascii
-                                                (false, true, false, false,
-                                                true, true, true, false)),
-                                                (String ((Ascii (true, false,
-                                                false, true, false, true,
-                                                true, false)), (String
-                                                ((Ascii (false, true, true,
-                                                true, false, true, true,
-                                                false)), (String ((Ascii
-                                                (true, true, true, false,
-                                                false, true, true, false)),
-                                                (String ((Ascii (true, true,
-                                                false, false, true, true,
-                                                true, false)), (String
-                                                ((Ascii (false, true, true,
-                                                true, false, true, false,
-                                                false)), (String ((Ascii
-                                                (false, false, true, false,
-                                                true, false, true, false)),
-                                                (String ((Ascii (false, true,
-                                                false, false, true, true,
-                                                true, false)), (String
-                                                ((Ascii (true, false, false,
-                                                true, false, true, true,
-                                                false)), (String ((Ascii
-                                                (true, false, true, true,
-                                                false, true, true, false)),
-                                                (String ((Ascii (true, true,
-                                                false, false, true, false,
-                                                true, false)), (String
-                                                ((Ascii (false, false, false,
-                                                false, true, true, true,
-                                                false)), (String ((Ascii
-                                                (true, false, false, false,
-                                                false, true, true, false)),
-                                                (String ((Ascii (true, true,
-                                                false, false, false, true,
-                                                true, false)), (String
-                                                ((Ascii (true, false, true,
-                                                false, false, true, true,
-                                                false)),
-                                                EmptyString)))))))))))))))))))))))))))))))))) :: [])) :: (
-    (mkcut (S (S (S (S (S (S (S (S (S (S (S (S (S (S (S (S (S (S (S (S (S
-      O))))))))))))))))))))) (S (S (S (S (S (S (S (S (S (S (S (S (S (S (S (S
-      (S (S (S (S (S (S (S (S (S (S (S O))))))))))))))))))))))))))) (String
-      ((Ascii (false, false, true, false, false, false, true, false)),
-      (String ((Ascii (true, false, false, false, false, true, true, false)),
-      (String ((Ascii (false, false, true, false, true, true, true, false)),
-      (String ((Ascii (true, false, true, false, false, true, true, false)),
-      (String ((Ascii (true, true, true, true, false, false, true, false)),
-      (String ((Ascii (false, true, true, false, false, true, true, false)),
-      (String ((Ascii (false, false, true, false, false, false, true,
-      false)), (String ((Ascii (true, false, true, false, false, true, true,
-      false)), (String ((Ascii (true, false, false, false, false, true, true,
-      false)), (String ((Ascii (false, false, true, false, true, true, true,
-      false)), (String ((Ascii (false, false, false, true, false, true, true,
-      false)), EmptyString)))))))))))))))))))))) ((String ((Ascii (false,
-      true, true, false, true, true, true, false)), (String ((Ascii (true,
-      false, false, false, false, true, true, false)), (String ((Ascii
-      (false, false, true, true, false, true, true, false)), (String ((Ascii
-      (true, false, false, true, false, true, true, false)), (String ((Ascii
-      (false, false, true, false, false, true, true, false)), (String ((Ascii
-      (true, false, false, false, false, true, true, false)), (String ((Ascii
-      (false, false, true, false, true, true, true, false)), (String ((Ascii
-      (true, false, true, false, false, true, true, false)), (String ((Ascii
-      (true, true, false, false, true, false, true, false)), (String ((Ascii
-      (true, false, false, true, false, true, true, false)), (String ((Ascii
-      (true, false, true, true, false, true, true, false)), (String ((Ascii
-      (false, false, false, false, true, true, true, false)), (String ((Ascii
-      (false, false, true, true, false, true, true, false)), (String ((Ascii
-      (true, false, true, false, false, true, true, false)), (String ((Ascii
-      (false, false, true, false, false, false, true, false)), (String
-      ((Ascii (true, false, false, false, false, true, true, false)), (String
-      ((Ascii (false, false, true, false, true, true, true, false)), (String
-      ((Ascii (true, false, true, false, false, true, true, false)),
-      EmptyString)))))))))))))))))))))))))))))))))))) :: [])) :: ((mkcut (S
-                                                                    (S (S (S
-                                                                    (S (S (S
-                                                                    (S (S (S
-                                                                    (S (S (S
-                                                                    (S (S (S
-                                                                    (S (S (S
-                                                                    (S (S (S
-                                                                    (S (S (S
-                                                                    (S (S
-                                                                    O)))))))))))))))))))))))))))
-                                                                    (S (S (S
-                                                                    (S (S (S
-                                                                    (S (S (S
-                                                                    (S (S (S
-                                                                    (S (S (S
-                                                                    (S (S (S
-                                                                    (S (S (S
-                                                                    (S (S (S
-                                                                    (S (S (S
-                                                                    (S (S (S
-                                                                    (S (S (S
-                                                                    (S (S
-                                                                    O)))))))))))))))))))))))))))))))))))
-                                                                    (String
-                                                                    ((Ascii
-                                                                    (true,
-                                                                    true,
-                                                                    true,
-                                                                    true,
-                                                                    false,
-                                                                    false,
-                                                                    true,
-                                                                    false)),
-                                                                    (String
-                                                                    ((Ascii
-                                                                    (false,
-                                                                    true,
-                                                                    false,
-                                                                    false,
-                                                                    true,
-                                                                    true,
-                                                                    true,
-                                                                    false)),
-                                                                    (String
-                                                                    ((Ascii
-                                                                    (true,
-                                                                    false,
-                                                                    false,
-                                                                    true,
-                                                                    false,
-                                                                    true,
-                                                                    true,
-                                                                    false)),
-                                                                    (String
-                                                                    ((Ascii
-                                                                    (true,
-                                                                    true,
-                                                                    true,
-                                                                    false,
-                                                                    false,
-                                                                    true,
-                                                                    true,
-                                                                    false)),
-                                                                    (String
-                                                                    ((Ascii
-                                                                    (true,
-                                                                    false,
-                                                                    false,
-                                                                    true,
-                                                                    false,
-                                                                    true,
-                                                                    true,
-                                                                    false)),
-                                                                    (String
-                                                                    ((Ascii
-                                                                    (false,
-                                                                    true,
-                                                                    true,
-                                                                    true,
-                                                                    false,
-                                                                    true,
-                                                                    true,
-                                                                    false)),
-                                                                    (String
-                                                                    ((Ascii
-                                                                    (true,
-                                                                    false,
-                                                                    false,
-                                                                    false,
-                                                                    false,
-                                                                    true,
-                                                                    true,
-                                                                    false)),
-                                                                    (String
-                                                                    ((Ascii
-                                                                    (false,
-                                                                    false,
-                                                                    true,
-                                                                    true,
-                                                                    false,
-                                                                    true,
-                                                                    true,
-                                                                    false)),
-                                                                    (String
-                                                                    ((Ascii
-                                                                    (false,
-                                                                    false,
-                                                                    true,
-                                                                    false,
-                                                                    false,
-                                                                    false,
-                                                                    true,
-                                                                    false)),
-                                                                    (String
-                                                                    ((Ascii
-                                                                    (false,
-                                                                    true,
-                                                                    true,
-                                                                    false,
-                                                                    false,
-                                                                    false,
-                                                                    true,
-                                                                    false)),
-                                                                    (String
-                                                                    ((Ascii
-                                                                    (true,
-                                                                    false,
-                                                                    false,
-                                                                    true,
-                                                                    false,
-                                                                    false,
-                                                                    true,
-                                                                    false)),
-                                                                    EmptyString))))))))))))))))))))))
-                                                                    ((String
-                                                                    ((Ascii
-                                                                    (false,
-                                                                    false,
-                                                                    false,
-                                                                    false,
-                                                                    true,
-                                                                    true,
-                                                                    true,
-                                                                    false)),
-                                                                    (String
-                                                                    ((Ascii
-                                                                    (true,
-                                                                    false,
-                                                                    false,
-                                                                    false,
-                                                                    false,
-                                                                    true,
-                                                                    true,
-                                                                    false)),
-                                                                    (String
-                                                                    ((Ascii
-                                                                    (false,
-                                                                    true,
-                                                                    false,
-                                                                    false,
-                                                                    true,
-                                                                    true,
-                                                                    true,
-                                                                    false)),
-                                                                    (String
-                                                                    ((Ascii
-                                                                    (true,
-                                                                    true,
-                                                                    false,
-                                                                    false,
-                                                                    true,
-                                                                    true,
-                                                                    true,
-                                                                    false)),
-                                                                    (String
-                                                                    ((Ascii
-                                                                    (true,
-                                                                    false,
-                                                                    true,
-                                                                    false,
-                                                                    false,
-                                                                    true,
-                                                                    true,
-                                                                    false)),
-                                                                    (String
-                                                                    ((Ascii
-                                                                    (true,
-                                                                    true,
-                                                                    false,
-                                                                    false,
-                                                                    true,
-                                                                    false,
-                                                                    true,
-                                                                    false)),
-                                                                    (String
-                                                                    ((Ascii
-                                                                    (false,
-                                                                    false,
-                                                                    true,
-                                                                    false,
-                                                                    true,
-                                                                    true,
-                                                                    true,
-                                                                    false)),
-                                                                    (String
-                                                                    ((Ascii
-                                                                    (false,
-                                                                    true,
-                                                                    false,
-                                                                    false,
-                                                                    true,
-                                                                    true,
-                                                                    true,
-                                                                    false)),
-                                                                    (String
-                                                                    ((Ascii
-                                                                    (true,
-                                                                    false,
-                                                                    false,
-                                                                    true,
-                                                                    false,
-                                                                    true,
-                                                                    true,
-                                                                    false)),
-                                                                    (String
-                                                                    ((Ascii
-                                                                    (false,
-                                                                    true,
-                                                                    true,
-                                                                    true,
-                                                                    false,
-                                                                    true,
-                                                                    true,
-                                                                    false)),
-                                                                    (String
-                                                                    ((Ascii
-                                                                    (true,
-                                                                    true,
-                                                                    true,
-                                                                    false,
-                                                                    false,
-                                                                    true,
-                                                                    true,
-                                                                    false)),
-                                                                    (String
-                                                                    ((Ascii
-                                                                    (false,
-                                                                    true,
-                                                                    true,
-                                                                    false,
-                                                                    false,
-                                                                    false,
-                                                                    true,
-                                                                    false)),
-                                                                    (String
-                                                                    ((Ascii
-                                                                    (true,
-                                                                    false,
-                                                                    false,
-                                                                    true,
-                                                                    false,
-                                                                    true,
-                                                                    true,
-                                                                    false)),
-                                                                    (String
-                                                                    ((Ascii
-                                                                    (true,
-                                                                    false,
-                                                                    true,
-                                                                    false,
-                                                                    false,
-                                                                    true,
-                                                                    true,
-                                                                    false)),
-                                                                    (String
-                                                                    ((Ascii
-                                                                    (false,
-                                                                    false,
-                                                                    true,
-                                                                    true,
-                                                                    false,
-                                                                    true,
-                                                                    true,
-                                                                    false)),
-                                                                    (String
-                                                                    ((Ascii
-                                                                    (false,
-                                                                    false,
-                                                                    true,
-                                                                    false,
-                                                                    false,
-                                                                    true,
-                                                                    true,
-                                                                    false)),
-                                                                    EmptyString)))))))))))))))))))))))))))))))) :: [])) :: (
-    (mkcut (S (S (S (S (S (S (S (S (S (S (S (S (S (S (S (S (S (S (S (S (S (S
-      (S (S (S (S (S (S (S (S (S (S (S (S (S
-      O))))))))))))))))))))))))))))))))))) (S (S (S (S (S (S (S (S (S (S (S
-      (S (S (S (S (S (S (S (S (S (S (S (S (S (S (S (S (S (S (S (S (S (S (S (S
-      (S (S (S (S (S (S (S (S (S (S (S (S (S (S (S (S (S (S (S (S (S (S (S (S
-      (S (S (S (S (S (S (S (S (S (S (S (S (S (S (S (S (S (S (S (S
-      O)))))))))))))))))))))))))))))))))))))))))))))))))))))))))))))))))))))))))))))))
-      (String ((Ascii (true, false, false, false, false, false, true,
-      false)), (String ((Ascii (false, false, true, false, false, true, true,
-      false)), (String ((Ascii (false, false, true, false, false, true, true,
-      false)), (String ((Ascii (true, false, true, false, false, true, true,
-      false)), (String ((Ascii (false, true, true, true, false, true, true,
-      false)), (String ((Ascii (false, false, true, false, false, true, true,
-      false)), (String ((Ascii (true, false, false, false, false, true, true,
-      false)), (String ((Ascii (true, false, false, true, false, false, true,
-      false)), (String ((Ascii (false, true, true, true, false, true, true,
-      false)), (String ((Ascii (false, true, true, false, false, true, true,
-      false)), (String ((Ascii (true, true, true, true, false, true, true,
-      false)), (String ((Ascii (false, true, false, false, true, true, true,
-      false)), (String ((Ascii (true, false, true, true, false, true, true,
-      false)), (String ((Ascii (true, false, false, false, false, true, true,
-      false)), (String ((Ascii (false, false, true, false, true, true, true,
-      false)), (String ((Ascii (true, false, false, true, false, true, true,
-      false)), (String ((Ascii (true, true, true, true, false, true, true,
-      false)), (String ((Ascii (false, true, true, true, false, true, true,
-      false)), EmptyString)))))))))))))))))))))))))))))))))))) []) :: (
-    (mkcut (S (S (S (S (S (S (S (S (S (S (S (S (S (S (S (S (S (S (S (S (S (S
-      (S (S (S (S (S (S (S (S (S (S (S (S (S (S (S (S (S (S (S (S (S (S (S (S
-      (S (S (S (S (S (S (S (S (S (S (S (S (S (S (S (S (S (S (S (S (S (S (S (S
-      (S (S (S (S (S (S (S (S (S
-      O)))))))))))))))))))))))))))))))))))))))))))))))))))))))))))))))))))))))))))))))
-      (S (S (S (S (S (S (S (S (S (S (S (S (S (S (S (S (S (S (S (S (S (S (S (S
-      (S (S (S (S (S (S (S (S (S (S (S (S (S (S (S (S (S (S (S (S (S (S (S (S
-      (S (S (S (S (S (S (S (S (S (S (S (S (S (S (S (S (S (S (S (S (S (S (S (S
-      (S (S (S (S (S (S (S (S (S (S (S (S (S (S (S (S (S (S (S (S (S (S
-      O))))))))))))))))))))))))))))))))))))))))))))))))))))))))))))))))))))))))))))))))))))))))))))))
-      (String ((Ascii (false, false, true, false, true, false, true, false)),
-      (String ((Ascii (false, true, false, false, true, true, true, false)),
-      (String ((Ascii (true, false, false, false, false, true, true, false)),
-      (String ((Ascii (true, true, false, false, false, true, true, false)),
-      (String ((Ascii (true, false, true, false, false, true, true, false)),
-      (String ((Ascii (false, true, true, true, false, false, true, false)),
-      (String ((Ascii (true, false, true, false, true, true, true, false)),
-      (String ((Ascii (true, false, true, true, false, true, true, false)),
-      (String ((Ascii (false, true, false, false, false, true, true, false)),
-      (String ((Ascii (true, false, true, false, false, true, true, false)),
-      (String ((Ascii (false, true, false, false, true, true, true, false)),
-      EmptyString)))))))))))))))))))))) ((String ((Ascii (true, true, false,
-      false, true, true, true, false)), (String ((Ascii (false, false, true,
-      false, true, true, true, false)), (String ((Ascii (false, true, false,
-      false, true, true, true, false)), (String ((Ascii (true, false, false,
-      true, false, true, true, false)), (String ((Ascii (false, true, true,
-      true, false, true, true, false)), (String ((Ascii (true, true, true,
-      false, false, true, true, false)), (String ((Ascii (true, true, false,
-      false, true, true, true, false)), (String ((Ascii (false, true, true,
-      true, false, true, false, false)), (String ((Ascii (false, false, true,
-      false, true, false, true, false)), (String ((Ascii (false, true, false,
-      false, true, true, true, false)), (String ((Ascii (true, false, false,
-      true, false, true, true, false)), (String ((Ascii (true, false, true,
-      true, false, true, true, false)), (String ((Ascii (true, true, false,
-      false, true, false, true, false)), (String ((Ascii (false, false,
-      false, false, true, true, true, false)), (String ((Ascii (true, false,
-      false, false, false, true, true, false)), (String ((Ascii (true, true,
-      false, false, false, true, true, false)), (String ((Ascii (true, false,
-      true, false, false, true, true, false)),
-      EmptyString)))))))))))))))))))))))))))))))))) :: [])) :: [])))))))) }
-
-(** val l_Addenda99Contested : layout **)
-
-let l_Addenda99Contested =
-  { l_name = (String ((Ascii (true, false, false, false, false, false, true,
-    false)), (String ((Ascii (false, false, true, false, false, true, true,
-    false)), (String ((Ascii (false, false, true, false, false, true, true,
-    false)), (String ((Ascii (true, false, true, false, false, true, true,
-    false)), (String ((Ascii (false, true, true, true, false, true, true,
-    false)), (String ((Ascii (false, false, true, false, false, true, true,
-    false)), (String ((Ascii (true, false, false, false, false, true, true,
-    false)), (String ((Ascii (true, false, false, true, true, true, false,
-    false)), (String ((Ascii (true, false, false, true, true, true, false,
-    false)), (String ((Ascii (true, true, false, false, false, false, true,
-    false)), (String ((Ascii (true, true, true, true, false, true, true,
-    false)), (String ((Ascii (false, true, true, true, false, true, true,
-    false)), (String ((Ascii (false, false, true, false, true, true, true,
-    false)), (String ((Ascii (true, false, true, false, false, true, true,
-    false)), (String ((Ascii (true, true, false, false, true, true, true,
-    false)), (String ((Ascii (false, false, true, false, true, true, true,
-    false)), (String ((Ascii (true, false, true, false, false, true, true,
-    false)), (String ((Ascii (false, false, true, false, false, true, true,
-    false)), EmptyString)))))))))))))))))))))))))))))))))))); l_ix = IRune;
-    l_segs = ((SLit ((Npos (XI (XI (XI (XO (XI XH)))))) :: [])) :: ((SRaw
-    (String ((Ascii (false, false, true, false, true, false, true, false)),
-    (String ((Ascii (true, false, false, true, true, true, true, false)),
-    (String ((Ascii (false, false, false, false, true, true, true, false)),
-    (String ((Ascii (true, false, true, false, false, true, true, false)),
-    (String ((Ascii (true, true, false, false, false, false, true, false)),
-    (String ((Ascii (true, true, true, true, false, true, true, false)),
-    (String ((Ascii (false, false, true, false, false, true, true, false)),
-    (String ((Ascii (true, false, true, false, false, true, true, false)),
-    EmptyString))))))))))))))))) :: ((SStr ((String ((Ascii (true, true,
-    false, false, false, false, true, false)), (String ((Ascii (true, true,
-    true, true, false, true, true, false)), (String ((Ascii (false, true,
-    true, true, false, true, true, false)), (String ((Ascii (false, false,
-    true, false, true, true, true, false)), (String ((Ascii (true, false,
-    true, false, false, true, true, false)), (String ((Ascii (true, true,
-    false, false, true, true, true, false)), (String ((Ascii (false, false,
-    true, false, true, true, true, false)), (String ((Ascii (true, false,
-    true, false, false, true, true, false)), (String ((Ascii (false, false,
-    true, false, false, true, true, false)), (String ((Ascii (false, true,
-    false, false, true, false, true, false)), (String ((Ascii (true, false,
-    true, false, false, true, true, false)), (String ((Ascii (false, false,
-    true, false, true, true, true, false)), (String ((Ascii (true, false,
-    true, false, true, true, true, false)), (String ((Ascii (false, true,
-    false, false, true, true, true, false)), (String ((Ascii (false, true,
-    true, true, false, true, true, false)), (String ((Ascii (true, true,
-    false, false, false, false, true, false)), (String ((Ascii (true, true,
-    true, true, false, true, true, false)), (String ((Ascii (false, false,
-    true, false, false, true, true, false)), (String ((Ascii (true, false,
-    true, false, false, true, true, false)),
-    EmptyString)))))))))))))))))))))))))))))))))))))), (S (S (S
-    O))))) :: ((SStr ((String ((Ascii (true, true, true, true, false, false,
-    true, false)), (String ((Ascii (false, true, false, false, true, true,
-    true, false)), (String ((Ascii (true, false, false, true, false, true,
-    true, false)), (String ((Ascii (true, true, true, false, false, true,
-    true, false)), (String ((Ascii (true, false, false, true, false, true,
-    true, false)), (String ((Ascii (false, true, true, true, false, true,
-    true, false)), (String ((Ascii (true, false, false, false, false, true,
-    true, false)), (String ((Ascii (false, false, true, true, false, true,
-    true, false)), (String ((Ascii (true, false, true, false, false, false,
-    true, false)), (String ((Ascii (false, true, true, true, false, true,
-    true, false)), (String ((Ascii (false, false, true, false, true, true,
-    true, false)), (String ((Ascii (false, true, false, false, true, true,
-    true, false)), (String ((Ascii (true, false, false, true, true, true,
-    true, false)), (String ((Ascii (false, false, true, false, true, false,
-    true, false)), (String ((Ascii (false, true, false, false, true, true,
-    true, false)), (String ((Ascii (true, false, false, false, false, true,
-    true, false)), (String ((Ascii (true, true, false, false, false, true,
-    true, false)), (String ((Ascii (true, false, true, false, false, true,
-    true, false)), (String ((Ascii (false, true, true, true, false, false,
-    true, false)), (String ((Ascii (true, false, true, false, true, true,
-    true, false)), (String ((Ascii (true, false, true, true, false, true,
-    true, false)), (String ((Ascii (false, true, false, false, false, true,
-    true, false)), (String ((Ascii (true, false, true, false, false, true,
-    true, false)), (String ((Ascii (false, true, false, false, true, true,
-    true, false)),
-    EmptyString)))))))))))))))))))))))))))))))))))))))))))))))), (S (S (S (S
-    (S (S (S (S (S (S (S (S (S (S (S O))))))))))))))))) :: ((SStr ((String
-    ((Ascii (false, false, true, false, false, false, true, false)), (String
-    ((Ascii (true, false, false, false, false, true, true, false)), (String
-    ((Ascii (false, false, true, false, true, true, true, false)), (String
-    ((Ascii (true, false, true, false, false, true, true, false)), (String
-    ((Ascii (true, true, true, true, false, false, true, false)), (String
-    ((Ascii (false, true, false, false, true, true, true, false)), (String
-    ((Ascii (true, false, false, true, false, true, true, false)), (String
-    ((Ascii (true, true, true, false, false, true, true, false)), (String
-    ((Ascii (true, false, false, true, false, true, true, false)), (String
-    ((Ascii (false, true, true, true, false, true, true, false)), (String
-    ((Ascii (true, false, false, false, false, true, true, false)), (String
-    ((Ascii (false, false, true, true, false, true, true, false)), (String
-    ((Ascii (true, false, true, false, false, false, true, false)), (String
-    ((Ascii (false, true, true, true, false, true, true, false)), (String
-    ((Ascii (false, false, true, false, true, true, true, false)), (String
-    ((Ascii (false, true, false, false, true, true, true, false)), (String
-    ((Ascii (true, false, false, true, true, true, true, false)), (String
-    ((Ascii (false, true, false, false, true, false, true, false)), (String
-    ((Ascii (true, false, true, false, false, true, true, false)), (String
-    ((Ascii (false, false, true, false, true, true, true, false)), (String
-    ((Ascii (true, false, true, false, true, true, true, false)), (String
-    ((Ascii (false, true, false, false, true, true, true, false)), (String
-    ((Ascii (false, true, true, true, false, true, true, false)), (String
-    ((Ascii (true, false, true, false, false, true, true, false)), (String
-    ((Ascii (false, false, true, false, false, true, true, false)),
-    EmptyString)))))))))))))))))))))))))))))))))))))))))))))))))), (S (S (S
-    (S (S (S O)))))))) :: ((SStr ((String ((Ascii (true, true, true, true,
-    false, false, true, false)), (String ((Ascii (false, true, false, false,
-    true, true, true, false)), (String ((Ascii (true, false, false, true,
-    false, true, true, false)), (String ((Ascii (true, true, true, false,
-    false, true, true, false)), (String ((Ascii (true, false, false, true,
-    false, true, true, false)), (String ((Ascii (false, true, true, true,
-    false, true, true, false)), (String ((Ascii (true, false, false, false,
-    false, true, true, false)), (String ((Ascii (false, false, true, true,
-    false, true, true, false)), (String ((Ascii (false, true, false, false,
-    true, false, true, false)), (String ((Ascii (true, false, true, false,
-    false, true, true, false)), (String ((Ascii (true, true, false, false,
-    false, true, true, false)), (String ((Ascii (true, false, true, false,
-    false, true, true, false)), (String ((Ascii (true, false, false, true,
-    false, true, true, false)), (String ((Ascii (false, true, true, false,
-    true, true, true, false)), (String ((Ascii (true, false, false, true,
-    false, true, true, false)), (String ((Ascii (false, true, true, true,
-    false, true, true, false)), (String ((Ascii (true, true, true, false,
-    false, true, true, false)), (String ((Ascii (false, false, true, false,
-    false, false, true, false)), (String ((Ascii (false, true, true, false,
-    false, false, true, false)), (String ((Ascii (true, false, false, true,
-    false, false, true, false)), (String ((Ascii (true, false, false, true,
-    false, false, true, false)), (String ((Ascii (false, false, true, false,
-    false, true, true, false)), (String ((Ascii (true, false, true, false,
-    false, true, true, false)), (String ((Ascii (false, true, true, true,
-    false, true, true, false)), (String ((Ascii (false, false, true, false,
-    true, true, true, false)), (String ((Ascii (true, false, false, true,
-    false, true, true, false)), (String ((Ascii (false, true, true, false,
-    false, true, true, false)), (String ((Ascii (true, false, false, true,
-    false, true, true, false)), (String ((Ascii (true, true, false, false,
-    false, true, true, false)), (String ((Ascii (true, false, false, false,
-    false, true, true, false)), (String ((Ascii (false, false, true, false,
-    true, true, true, false)), (String ((Ascii (true, false, false, true,
-    false, true, true, false)), (String ((Ascii (true, true, true, true,
-    false, true, true, false)), (String ((Ascii (false, true, true, true,
-    false, true, true, false)),
-    EmptyString)))))))))))))))))))))))))))))))))))))))))))))))))))))))))))))))))))),
-    (S (S (S (S (S (S (S (S O)))))))))) :: ((SStr ((String ((Ascii (true,
-    true, true, true, false, false, true, false)), (String ((Ascii (false,
-    true, false, false, true, true, true, false)), (String ((Ascii (true,
-    false, false, true, false, true, true, false)), (String ((Ascii (true,
-    true, true, false, false, true, true, false)), (String ((Ascii (true,
-    false, false, true, false, true, true, false)), (String ((Ascii (false,
-    true, true, true, false, true, true, false)), (String ((Ascii (true,
-    false, false, false, false, true, true, false)), (String ((Ascii (false,
-    false, true, true, false, true, true, false)), (String ((Ascii (true,
-    true, false, false, true, false, true, false)), (String ((Ascii (true,
-    false, true, false, false, true, true, false)), (String ((Ascii (false,
-    false, true, false, true, true, true, false)), (String ((Ascii (false,
-    false, true, false, true, true, true, false)), (String ((Ascii (false,
-    false, true, true, false, true, true, false)), (String ((Ascii (true,
-    false, true, false, false, true, true, false)), (String ((Ascii (true,
-    false, true, true, false, true, true, false)), (String ((Ascii (true,
-    false, true, false, false, true, true, false)), (String ((Ascii (false,
-    true, true, true, false, true, true, false)), (String ((Ascii (false,
-    false, true, false, true, true, true, false)), (String ((Ascii (false,
-    false, true, false, false, false, true, false)), (String ((Ascii (true,
-    false, false, false, false, true, true, false)), (String ((Ascii (false,
-    false, true, false, true, true, true, false)), (String ((Ascii (true,
-    false, true, false, false, true, true, false)),
-    EmptyString)))))))))))))))))))))))))))))))))))))))))))), (S (S (S
-    O))))) :: ((SStr ((String ((Ascii (false, true, false, false, true,
-    false, true, false)), (String ((Ascii (true, false, true, false, false,
-    true, true, false)), (String ((Ascii (false, false, true, false, true,
-    true, true, false)), (String ((Ascii (true, false, true, false, true,
-    true, true, false)), (String ((Ascii (false, true, false, false, true,
-    true, true, false)), (String ((Ascii (false, true, true, true, false,
-    true, true, false)), (String ((Ascii (false, false, true, false, true,
-    false, true, false)), (String ((Ascii (false, true, false, false, true,
-    true, true, false)), (String ((Ascii (true, false, false, false, false,
-    true, true, false)), (String ((Ascii (true, true, false, false, false,
-    true, true, false)), (String ((Ascii (true, false, true, false, false,
-    true, true, false)), (String ((Ascii (false, true, true, true, false,
-    false, true, false)), (String ((Ascii (true, false, true, false, true,
-    true, true, false)), (String ((Ascii (true, false, true, true, false,
-    true, true, false)), (String ((Ascii (false, true, false, false, false,
-    true, true, false)), (String ((Ascii (true, false, true, false, false,
-    true, true, false)), (String ((Ascii (false, true, false, false, true,
-    true, true, false)), EmptyString)))))))))))))))))))))))))))))))))), (S (S
-    (S (S (S (S (S (S (S (S (S (S (S (S (S O))))))))))))))))) :: ((SStr
-    ((String ((Ascii (false, true, false, false, true, false, true, false)),
-    (String ((Ascii (true, false, true, false, false, true, true, false)),
-    (String ((Ascii (false, false, true, false, true, true, true, false)),
-    (String ((Ascii (true, false, true, false, true, true, true, false)),
-    (String ((Ascii (false, true, false, false, true, true, true, false)),
-    (String ((Ascii (false, true, true, true, false, true, true, false)),
-    (String ((Ascii (true, true, false, false, true, false, true, false)),
-    (String ((Ascii (true, false, true, false, false, true, true, false)),
-    (String ((Ascii (false, false, true, false, true, true, true, false)),
-    (String ((Ascii (false, false, true, false, true, true, true, false)),
-    (String ((Ascii (false, false, true, true, false, true, true, false)),
-    (String ((Ascii (true, false, true, false, false, true, true, false)),
-    (String ((Ascii (true, false, true, true, false, true, true, false)),
-    (String ((Ascii (true, false, true, false, false, true, true, false)),
-    (String ((Ascii (false, true, true, true, false, true, true, false)),
-    (String ((Ascii (false, false, true, false, true, true, true, false)),
-    (String ((Ascii (false, false, true, false, false, false, true, false)),
-    (String ((Ascii (true, false, false, false, false, true, true, false)),
-    (String ((Ascii (false, false, true, false, true, true, true, false)),
-    (String ((Ascii (true, false, true, false, false, true, true, false)),
-    EmptyString)))))))))))))))))))))))))))))))))))))))), (S (S (S
-    O))))) :: ((SStr ((String ((Ascii (false, true, false, false, true,
-    false, true, false)), (String ((Ascii (true, false, true, false, false,
-    true, true, false)), (String ((Ascii (false, false, true, false, true,
-    true, true, false)), (String ((Ascii (true, false, true, false, true,
-    true, true, false)), (String ((Ascii (false, true, false, false, true,
-    true, true, false)), (String ((Ascii (false, true, true, true, false,
-    true, true, false)), (String ((Ascii (false, true, false, false, true,
-    false, true, false)), (String ((Ascii (true, false, true, false, false,
-    true, true, false)), (String ((Ascii (true, false, false, false, false,
-    true, true, false)), (String ((Ascii (true, true, false, false, true,
-    true, true, false)), (String ((Ascii (true, true, true, true, false,
-    true, true, false)), (String ((Ascii (false, true, true, true, false,
-    true, true, false)), (String ((Ascii (true, true, false, false, false,
-    false, true, false)), (String ((Ascii (true, true, true, true, false,
-    true, true, false)), (String ((Ascii (false, false, true, false, false,
-    true, true, false)), (String ((Ascii (true, false, true, false, false,
-    true, true, false)), EmptyString)))))))))))))))))))))))))))))))), (S (S
-    O)))) :: ((SStr ((String ((Ascii (false, false, true, false, false,
-    false, true, false)), (String ((Ascii (true, false, false, true, false,
-    true, true, false)), (String ((Ascii (true, true, false, false, true,
-    true, true, false)), (String ((Ascii (false, false, false, true, false,
-    true, true, false)), (String ((Ascii (true, true, true, true, false,
-    true, true, false)), (String ((Ascii (false, true, true, true, false,
-    true, true, false)), (String ((Ascii (true, true, true, true, false,
-    true, true, false)), (String ((Ascii (false, true, false, false, true,
-    true, true, false)), (String ((Ascii (true, false, true, false, false,
-    true, true, false)), (String ((Ascii (false, false, true, false, false,
-    true, true, false)), (String ((Ascii (false, true, false, false, true,
-    false, true, false)), (String ((Ascii (true, false, true, false, false,
-    true, true, false)), (String ((Ascii (false, false, true, false, true,
-    true, true, false)), (String ((Ascii (true, false, true, false, true,
-    true, true, false)), (String ((Ascii (false, true, false, false, true,
-    true, true, false)), (String ((Ascii (false, true, true, true, false,
-    true, true, false)), (String ((Ascii (false, false, true, false, true,
-    false, true, false)), (String ((Ascii (false, true, false, false, true,
-    true, true, false)), (String ((Ascii (true, false, false, false, false,
-    true, true, false)), (String ((Ascii (true, true, false, false, false,
-    true, true, false)), (String ((Ascii (true, false, true, false, false,
-    true, true, false)), (String ((Ascii (false, true, true, true, false,
-    false, true, false)), (String ((Ascii (true, false, true, false, true,
-    true, true, false)), (String ((Ascii (true, false, true, true, false,
-    true, true, false)), (String ((Ascii (false, true, false, false, false,
-    true, true, false)), (String ((Ascii (true, false, true, false, false,
-    true, true, false)), (String ((Ascii (false, true, false, false, true,
-    true, true, false)),
-    EmptyString)))))))))))))))))))))))))))))))))))))))))))))))))))))), (S (S
-    (S (S (S (S (S (S (S (S (S (S (S (S (S O))))))))))))))))) :: ((SStr
-    ((String ((Ascii (false, false, true, false, false, false, true, false)),
-    (String ((Ascii (true, false, false, true, false, true, true, false)),
-    (String ((Ascii (true, true, false, false, true, true, true, false)),
-    (String ((Ascii (false, false, false, true, false, true, true, false)),
-    (String ((Ascii (true, true, true, true, false, true, true, false)),
-    (String ((Ascii (false, true, true, true, false, true, true, false)),
-    (String ((Ascii (true, true, true, true, false, true, true, false)),
-    (String ((Ascii (false, true, false, false, true, true, true, false)),
-    (String ((Ascii (true, false, true, false, false, true, true, false)),
-    (String ((Ascii (false, false, true, false, false, true, true, false)),
-    (String ((Ascii (false, true, false, false, true, false, true, false)),
-    (String ((Ascii (true, false, true, false, false, true, true, false)),
-    (String ((Ascii (false, false, true, false, true, true, true, false)),
-    (String ((Ascii (true, false, true, false, true, true, true, false)),
-    (String ((Ascii (false, true, false, false, true, true, true, false)),
-    (String ((Ascii (false, true, true, true, false, true, true, false)),
-    (String ((Ascii (true, true, false, false, true, false, true, false)),
-    (String ((Ascii (true, false, true, false, false, true, true, false)),
-    (String ((Ascii (false, false, true, false, true, true, true, false)),
-    (String ((Ascii (false, false, true, false, true, true, true, false)),
-    (String ((Ascii (false, false, true, true, false, true, true, false)),
-    (String ((Ascii (true, false, true, false, false, true, true, false)),
-    (String ((Ascii (true, false, true, true, false, true, true, false)),
-    (String ((Ascii (true, false, true, false, false, true, true, false)),
-    (String ((Ascii (false, true, true, true, false, true, true, false)),
-    (String ((Ascii (false, false, true, false, true, true, true, false)),
-    (String ((Ascii (false, false, true, false, false, false, true, false)),
-    (String ((Ascii (true, false, false, false, false, true, true, false)),
-    (String ((Ascii (false, false, true, false, true, true, true, false)),
-    (String ((Ascii (true, false, true, false, false, true, true, false)),
-    EmptyString)))))))))))))))))))))))))))))))))))))))))))))))))))))))))))),
-    (S (S (S O))))) :: ((SStr ((String ((Ascii (false, false, true, false,
-    false, false, true, false)), (String ((Ascii (true, false, false, true,
-    false, true, true, false)), (String ((Ascii (true, true, false, false,
-    true, true, true, false)), (String ((Ascii (false, false, false, true,
-    false, true, true, false)), (String ((Ascii (true, true, true, true,
-    false, true, true, false)), (String ((Ascii (false, true, true, true,
-    false, true, true, false)), (String ((Ascii (true, true, true, true,
-    false, true, true, false)), (String ((Ascii (false, true, false, false,
-    true, true, true, false)), (String ((Ascii (true, false, true, false,
-    false, true, true, false)), (String ((Ascii (false, false, true, false,
-    false, true, true, false)), (String ((Ascii (false, true, false, false,
-    true, false, true, false)), (String ((Ascii (true, false, true, false,
-    false, true, true, false)), (String ((Ascii (false, false, true, false,
-    true, true, true, false)), (String ((Ascii (true, false, true, false,
-    true, true, true, false)), (String ((Ascii (false, true, false, false,
-    true, true, true, false)), (String ((Ascii (false, true, true, true,
-    false, true, true, false)), (String ((Ascii (false, true, false, false,
-    true, false, true, false)), (String ((Ascii (true, false, true, false,
-    false, true, true, false)), (String ((Ascii (true, false, false, false,
-    false, true, true, false)), (String ((Ascii (true, true, false, false,
-    true, true, true, false)), (String ((Ascii (true, true, true, true,
-    false, true, true, false)), (String ((Ascii (false, true, true, true,
-    false, true, true, false)), (String ((Ascii (true, true, false, false,
-    false, false, true, false)), (String ((Ascii (true, true, true, true,
-    false, true, true, false)), (String ((Ascii (false, false, true, false,
-    false, true, true, false)), (String ((Ascii (true, false, true, false,
-    false, true, true, false)),
-    EmptyString)))))))))))))))))))))))))))))))))))))))))))))))))))), (S (S
-    O)))) :: ((SLit ((Npos (XO (XO (XO (XO (XO XH)))))) :: [])) :: ((SStr
-    ((String ((Ascii (false, false, true, false, true, false, true, false)),
-    (String ((Ascii (false, true, false, false, true, true, true, false)),
-    (String ((Ascii (true, false, false, false, false, true, true, false)),
-    (String ((Ascii (true, true, false, false, false, true, true, false)),
-    (String ((Ascii (true, false, true, false, false, true, true, false)),
-    (String ((Ascii (false, true, true, true, false, false, true, false)),
-    (String ((Ascii (true, false, true, false, true, true, true, false)),
-    (String ((Ascii (true, false, true, true, false, true, true, false)),
-    (String ((Ascii (false, true, false, false, false, true, true, false)),
-    (String ((Ascii (true, false, true, false, false, true, true, false)),
-    (String ((Ascii (false, true, false, false, true, true, true, false)),
-    EmptyString)))))))))))))))))))))), (S (S (S (S (S (S (S (S (S (S (S (S (S
-    (S (S O))))))))))))))))) :: []))))))))))))))); l_cuts =
-    ((mkcut O (S O) EmptyString []) :: ((mkcut (S O) (S (S (S O))) (String
-                                          ((Ascii (false, false, true, false,
-                                          true, false, true, false)), (String
-                                          ((Ascii (true, false, false, true,
-                                          true, true, true, false)), (String
-                                          ((Ascii (false, false, false,
-                                          false, true, true, true, false)),
-                                          (String ((Ascii (true, false, true,
-                                          false, false, true, true, false)),
-                                          (String ((Ascii (true, true, false,
-                                          false, false, false, true, false)),
-                                          (String ((Ascii (true, true, true,
-                                          true, false, true, true, false)),
-                                          (String ((Ascii (false, false,
-                                          true, false, false, true, true,
-                                          false)), (String ((Ascii (true,
-                                          false, true, false, false, true,
-                                          true, false)),
-                                          EmptyString)))))))))))))))) []) :: (
-    (mkcut (S (S (S O))) (S (S (S (S (S (S O)))))) (String ((Ascii (true,
-      true, false, false, false, false, true, false)), (String ((Ascii (true,
-      true, true, true, false, true, true, false)), (String ((Ascii (false,
-      true, true, true, false, true, true, false)), (String ((Ascii (false,
-      false, true, false, true, true, true, false)), (String ((Ascii (true,
-      false, true, false, false, true, true, false)), (String ((Ascii (true,
-      true, false, false, true, true, true, false)), (String ((Ascii (false,
-      false, true, false, true, true, true, false)), (String ((Ascii (true,
-      false, true, false, false, true, true, false)), (String ((Ascii (false,
-      false, true, false, false, true, true, false)), (String ((Ascii (false,
-      true, false, false, true, false, true, false)), (String ((Ascii (true,
-      false, true, false, false, true, true, false)), (String ((Ascii (false,
-      false, true, false, true, true, true, false)), (String ((Ascii (true,
-      false, true, false, true, true, true, false)), (String ((Ascii (false,
-      true, false, false, true, true, true, false)), (String ((Ascii (false,
-      true, true, true, false, true, true, false)), (String ((Ascii (true,
-      true, false, false, false, false, true, false)), (String ((Ascii (true,
-      true, true, true, false, true, true, false)), (String ((Ascii (false,
-      false, true, false, false, true, true, false)), (String ((Ascii (true,
-      false, true, false, false, true, true, false)),
-      EmptyString)))))))))))))))))))))))))))))))))))))) []) :: ((mkcut (S (S
-                                                                  (S (S (S (S
-                                                                  O)))))) (S
-                                                                  (S (S (S (S
-                                                                  (S (S (S (S
-                                                                  (S (S (S (S
-                                                                  (S (S (S (S
-                                                                  (S (S (S (S
-                                                                  O)))))))))))))))))))))
-                                                                  (String
-                                                                  ((Ascii
-                                                                  (true,
-                                                                  true, true,
-                                                                  true,
-                                                                  false,
-                                                                  false,
-                                                                  true,
-                                                                  false)),
-                                                                  (String
-                                                                  ((Ascii
-                                                                  (false,
-                                                                  true,
-                                                                  false,
-                                                                  false,
-                                                                  true, true,
-                                                                  true,
-                                                                  false)),
-                                                                  (String
-                                                                  ((Ascii
-                                                                  (true,
-                                                                  false,
-                                                                  false,
-                                                                  true,
-                                                                  false,
-                                                                  true, true,
-                                                                  false)),
-                                                                  (String
-                                                                  ((Ascii
-                                                                  (true,
-                                                                  true, true,
-                                                                  false,
-                                                                  false,
-                                                                  true, true,
-                                                                  false)),
-                                                                  (String
-                                                                  ((Ascii
-                                                                  (true,
-                                                                  false,
-                                                                  false,
-                                                                  true,
-                                                                  false,
-                                                                  true, true,
-                                                                  false)),
-                                                                  (String
-                                                                  ((Ascii
-                                                                  (false,
-                                                                  true, true,
-                                                                  true,
-                                                                  false,
-                                                                  true, true,
-                                                                  false)),
-                                                                  (String
-                                                                  ((Ascii
-                                                                  (true,
-                                                                  false,
-                                                                  false,
-                                                                  false,
-                                                                  false,
-                                                                  true, true,
-                                                                  false)),
-                                                                  (String
-                                                                  ((Ascii
-                                                                  (false,
-                                                                  false,
-                                                                  true, true,
-                                                                  false,
-                                                                  true, true,
-                                                                  false)),
-                                                                  (String
-                                                                  ((Ascii
-                                                                  (true,
-                                                                  false,
-                                                                  true,
-                                                                  false,
-                                                                  false,
-                                                                  false,
-                                                                  true,
-                                                                  false)),
-                                                                  (String
-                                                                  ((Ascii
-                                                                  (false,
-                                                                  true, true,
-                                                                  true,
-                                                                  false,
-                                                                  true, true,
-                                                                  false)),
-                                                                  (String
-                                                                  ((Ascii
-                                                                  (false,
-                                                                  false,
-                                                                  true,
-                                                                  false,
-                                                                  true, true,
-                                                                  true,
-                                                                  false)),
-                                                                  (String
-                                                                  ((Ascii
-                                                                  (false,
-                                                                  true,
-                                                                  false,
-                                                                  false,
-                                                                  true, true,
-                                                                  true,
-                                                                  false)),
-                                                                  (String
-                                                                  ((Ascii
-                                                                  (true,
-                                                                  false,
-                                                                  false,
-                                                                  true, true,
-                                                                  true, true,
-                                                                  false)),
-                                                                  (String
-                                                                  ((Ascii
-                                                                  (false,
-                                                                  false,
-                                                                  true,
-                                                                  false,
-                                                                  true,
-                                                                  false,
-                                                                  true,
-                                                                  false)),
-                                                                  (String
-                                                                  ((Ascii
-                                                                  (false,
-                                                                  true,
-                                                                  false,
-                                                                  false,
-                                                                  true, true,
-                                                                  true,
-                                                                  false)),
-                                                                  (String
-                                                                  ((Ascii
-                                                                  (true,
-                                                                  false,
-                                                                  false,
-                                                                  false,
-                                                                  false,
-                                                                  true, true,
-                                                                  false)),
-                                                                  (String
-                                                                  ((Ascii
-                                                                  (true,
-                                                                  true,
-                                                                  false,
-                                                                  false,
-                                                                  false,
-                                                                  true, true,
-                                                                  false)),
-                                                                  (String
-                                                                  ((Ascii
-                                                                  (true,
-                                                                  false,
-                                                                  true,
-                                                                  false,
-                                                                  false,
-                                                                  true, true,
-                                                                  false)),
-                                                                  (String
-                                                                  ((Ascii
-                                                                  (false,
-                                                                  true, true,
-                                                                  true,
-                                                                  false,
-                                                                  false,
-                                                                  true,
-                                                                  false)),
-                                                                  (String
-                                                                  ((Ascii
-                                                                  (true,
-                                                                  false,
-                                                                  true,
-                                                                  false,
-                                                                  true, true,
-                                                                  true,
-                                                                  false)),
-                                                                  (String
-                                                                  ((Ascii
-                                                                  (true,
-                                                                  false,
-                                                                  true, true,
-                                                                  false,
-                                                                  true, true,
-                                                                  false)),
-                                                                  (String
-                                                                  ((Ascii
-                                                                  (false,
-                                                                  true,
-                                                                  false,
-                                                                  false,
-                                                                  false,
-                                                                  true, true,
-                                                                  false)),
-                                                                  (String
-                                                                  ((Ascii
-                                                                  (true,
-                                                                  false,
-                                                                  true,
-                                                                  false,
-                                                                  false,
-                                                                  true, true,
-                                                                  false)),
-                                                                  (String
-                                                                  ((Ascii
-                                                                  (false,
-                                                                  true,
-                                                                  false,
-                                                                  false,
-                                                                  true, true,
-                                                                  true,
-                                                                  false)),
-                                                                  EmptyString))))))))))))))))))))))))))))))))))))))))))))))))
-                                                                  []) :: (
-    (mkcut (S (S (S (S (S (S (S (S (S (S (S (S (S (S (S (S (S (S (S (S (S
-      O))))))))))))))))))))) (S (S (S (S (S (S (S (S (S (S (S (S (S (S (S (S
-      (S (S (S (S (S (S (S (S (S (S (S O))))))))))))))))))))))))))) (String
-      ((Ascii (false, false, true, false, false, false, true, false)),
-      (String ((Ascii (true, false, false, false, false, true, true, false)),
-      (String ((Ascii (false, false, true, false, true, true, true, false)),
-      (String ((Ascii (true, false, true, false, false, true, true, false)),
-      (String ((Ascii (true, true, true, true, false, false, true, false)),
-      (String ((Ascii (false, true, false, false, true, true, true, false)),
-      (String ((Ascii (true, false, false, true, false, true, true, false)),
-      (String ((Ascii (true, true, true, false, false, true, true, false)),
-      (String ((Ascii (true, false, false, true, false, true, true, false)),
-      (String ((Ascii (false, true, true, true, false, true, true, false)),
-      (String ((Ascii (true, false, false, false, false, true, true, false)),
-      (String ((Ascii (false, false, true, true, false, true, true, false)),
-      (String ((Ascii (true, false, true, false, false, false, true, false)),
-      (String ((Ascii (false, true, true, true, false, true, true, false)),
-      (String ((Ascii (false, false, true, false, true, true, true, false)),
-      (String ((Ascii (false, true, false, false, true, true, true, false)),
-      (String ((Ascii (true, false, false, true, true, true, true, false)),
-      (String ((Ascii (false, true, false, false, true, false, true, false)),
-      (String ((Ascii (true, false, true, false, false, true, true, false)),
-      (String ((Ascii (false, false, true, false, true, true, true, false)),
-      (String ((Ascii (true, false, true, false, true, true, true, false)),
-      (String ((Ascii (false, true, false, false, true, true, true, false)),
-      (String ((Ascii (false, true, true, true, false, true, true, false)),
-      (String ((Ascii (true, false, true, false, false, true, true, false)),
-      (String ((Ascii (false, false, true, false, false, true, true, false)),
-      EmptyString)))))))))))))))))))))))))))))))))))))))))))))))))) []) :: (
-    (mkcut (S (S (S (S (S (S (S (S (S (S (S (S (S (S (S (S (S (S (S (S (S (S
-      (S (S (S (S (S O))))))))))))))))))))))))))) (S (S (S (S (S (S (S (S (S
-      (S (S (S (S (S (S (S (S (S (S (S (S (S (S (S (S (S (S (S (S (S (S (S (S
-      (S (S O))))))))))))))))))))))))))))))))))) (String ((Ascii (true, true,
-      true, true, false, false, true, false)), (String ((Ascii (false, true,
-      false, false, true, true, true, false)), (String ((Ascii (true, false,
-      false, true, false, true, true, false)), (String ((Ascii (true, true,
-      true, false, false, true, true, false)), (String ((Ascii (true, false,
-      false, true, false, true, true, false)), (String ((Ascii (false, true,
-      true, true, false, true, true, false)), (String ((Ascii (true, false,
-      false, false, false, true, true, false)), (String ((Ascii (false,
-      false, true, true, false, true, true, false)), (String ((Ascii (false,
-      true, false, false, true, false, true, false)), (String ((Ascii (true,
-      false, true, false, false, true, true, false)), (String ((Ascii (true,
-      true, false, false, false, true, true, false)), (String ((Ascii (true,
-      false, true, false, false, true, true, false)), (String ((Ascii (true,
-      false, false, true, false, true, true, false)), (String ((Ascii (false,
-      true, true, false, true, true, true, false)), (String ((Ascii (true,
-      false, false, true, false, true, true, false)), (String ((Ascii (false,
-      true, true, true, false, true, true, false)), (String ((Ascii (true,
-      true, true, false, false, true, true, false)), (String ((Ascii (false,
-      false, true, false, false, false, true, false)), (String ((Ascii
-      (false, true, true, false, false, false, true, false)), (String ((Ascii
-      (true, false, false, true, false, false, true, false)), (String ((Ascii
-      (true, false, false, true, false, false, true, false)), (String ((Ascii
-      (false, false, true, false, false, true, true, false)), (String ((Ascii
-      (true, false, true, false, false, true, true, false)), (String ((Ascii
-      (false, true, true, true, false, true, true, false)), (String ((Ascii
-      (false, false, true, false, true, true, true, false)), (String ((Ascii
-      (true, false, false, true, false, true, true, false)), (String ((Ascii
-      (false, true, true, false, false, true, true, false)), (String ((Ascii
-      (true, false, false, true, false, true, true, false)), (String ((Ascii
-      (true, true, false, false, false, true, true, false)), (String ((Ascii
-      (true, false, false, false, false, true, true, false)), (String ((Ascii
-      (false, false, true, false, true, true, true, false)), (String ((Ascii
-      (true, false, false, true, false, true, true, false)), (String ((Ascii
-      (true, true, true, true, false, true, true, false)), (String ((Ascii
-      (false, true, true, true, false, true, true, false)),
-      EmptyString))))))))))))))))))))))))))))))))))))))))))))))))))))))))))))))))))))
-      []) :: ((mkcut (S (S (S (S (S (S (S (S (S (S (S (S (S (S (S (S (S (S (S
-                (S (S (S (S (S (S (S (S (S (S (S (S (S (S (S (S
-                O))))))))))))))))))))))))))))))))))) (S (S (S (S (S (S (S (S
-                (S (S (S (S (S (S (S (S (S (S (S (S (S (S (S (S (S (S (S (S
-                (S (S (S (S (S (S (S (S (S (S
-                O)))))))))))))))))))))))))))))))))))))) (String ((Ascii
-                (true, true, true, true, false, false, true, false)), (String
-                ((Ascii (false, true, false, false, true, true, true,
-                false)), (String ((Ascii (true, false, false, true, false,
-                true, true, false)), (String ((Ascii (true, true, true,
-                false, false, true, true, false)), (String ((Ascii (true,
-                false, false, true, false, true, true, false)), (String
-                ((Ascii (false, true, true, true, false, true, true, false)),
-                (String ((Ascii (true, false, false, false, false, true,
-                true, false)), (String ((Ascii (false, false, true, true,
-                false, true, true, false)), (String ((Ascii (true, true,
-                false, false, true, false, true, false)), (String ((Ascii
-                (true, false, true, false, false, true, true, false)),
-                (String ((Ascii (false, false, true, false, true, true, true,
-                false)), (String ((Ascii (false, false, true, false, true,
-                true, true, false)), (String ((Ascii (false, false, true,
-                true, false, true, true, false)), (String ((Ascii (true,
-                false, true, false, false, true, true, false)), (String
-                ((Ascii (true, false, true, true, false, true, true, false)),
-                (String ((Ascii (true, false, true, false, false, true, true,
-                false)), (String ((Ascii (false, true, true, true, false,
-                true, true, false)), (String ((Ascii (false, false, true,
-                false, true, true, true, false)), (String ((Ascii (false,
-                false, true, false, false, false, true, false)), (String
-                ((Ascii (true, false, false, false, false, true, true,
-                false)), (String ((Ascii (false, false, true, false, true,
-                true, true, false)), (String ((Ascii (true, false, true,
-                false, false, true, true, false)),
-                EmptyString)))))))))))))))))))))))))))))))))))))))))))) []) :: (
-    (mkcut (S (S (S (S (S (S (S (S (S (S (S (S (S (S (S (S (S (S (S (S (S (S
-      (S (S (S (S (S (S (S (S (S (S (S (S (S (S (S (S
-      O)))))))))))))))))))))))))))))))))))))) (S (S (S (S (S (S (S (S (S (S
-      (S (S (S (S (S (S (S (S (S (S (S (S (S (S (S (S (S (S (S (S (S (S (S (S
-      (S (S (S (S (S (S (S (S (S (S (S (S (S (S (S (S (S (S (S
-      O))))))))))))))))))))))))))))))))))))))))))))))))))))) (String ((Ascii
-      (false, true, false, false, true, false, true, false)), (String ((Ascii
-      (true, false, true, false, false, true, true, false)), (String ((Ascii
-      (false, false, true, false, true, true, true, false)), (String ((Ascii
-      (true, false, true, false, true, true, true, false)), (String ((Ascii
-      (false, true, false, false, true, true, true, false)), (String ((Ascii
-      (false, true, true, true, false, true, true, false)), (String ((Ascii
-      (false, false, true, false, true, false, true, false)), (String ((Ascii
-      (false, true, false, false, true, true, true, false)), (String ((Ascii
-      (true, false, false, false, false, true, true, false)), (String ((Ascii
-      (true, true, false, false, false, true, true, false)), (String ((Ascii
-      (true, false, true, false, false, true, true, false)), (String ((Ascii
-      (false, true, true, true, false, false, true, false)), (String ((Ascii
-      (true, false, true, false, true, true, true, false)), (String ((Ascii
-      (true, false, true, true, false, true, true, false)), (String ((Ascii
-      (false, true, false, false, false, true, true, false)), (String ((Ascii
-      (true, false, true, false, false, true, true, false)), (String ((Ascii
-      (false, true, false, false, true, true, true, false)),
-      EmptyString)))))))))))))))))))))))))))))))))) []) :: ((mkcut (S (S (S
-                                                              (S (S (S (S (S
-                                                              (S (S (S (S (S
-                                                              (S (S (S (S (S
-                                                              (S (S (S (S (S
-                                                              (S (S (S (S (S
-                                                              (S (S (S (S (S
-                                                              (S (S (S (S (S
-                                                              (S (S (S (S (S
-                                                              (S (S (S (S (S
-                                                              (S (S (S (S (S
-                                                              O)))))))))))))))))))))))))))))))))))))))))))))))))))))
-                                                              (S (S (S (S (S
-                                                              (S (S (S (S (S
-                                                              (S (S (S (S (S
-                                                              (S (S (S (S (S
-                                                              (S (S (S (S (S
-                                                              (S (S (S (S (S
-                                                              (S (S (S (S (S
-                                                              (S (S (S (S (S
-                                                              (S (S (S (S (S
-                                                              (S (S (S (S (S
-                                                              (S (S (S (S (S
-                                                              (S
-                                                              O))))))))))))))))))))))))))))))))))))))))))))))))))))))))
-                                                              (String ((Ascii
-                                                              (false, true,
-                                                              false, false,
-                                                              true, false,
-                                                              true, false)),
-                                                              (String ((Ascii
-                                                              (true, false,
-                                                              true, false,
-                                                              false, true,
-                                                              true, false)),
-                                                              (String ((Ascii
-                                                              (false, false,
-                                                              true, false,
-                                                              true, true,
-                                                              true, false)),
-                                                              (String ((Ascii
-                                                              (true, false,
-                                                              true, false,
-                                                              true, true,
-                                                              true, false)),
-                                                              (String ((Ascii
-                                                              (false, true,
-                                                              false, false,
-                                                              true, true,
-                                                              true, false)),
-                                                              (String ((Ascii
-                                                              (false, true,
-                                                              true, true,
-                                                              false, true,
-                                                              true, false)),
-                                                              (String ((Ascii
-                                                              (true, true,
-                                                              false, false,
-                                                              true, false,
-                                                              true, false)),
-                                                              (String ((Ascii
-                                                              (true, false,
-                                                              true, false,
-                                                              false, true,
-                                                              true, false)),
-                                                              (String ((Ascii
-                                                              (false, false,
-                                                              true, false,
-                                                              true, true,
-                                                              true, false)),
-                                                              (String ((Ascii
-                                                              (false, false,
-                                                              true, false,
-                                                              true, true,
-                                                              true, false)),
-                                                              (String ((Ascii
-                                                              (false, false,
-                                                              true, true,
-                                                              false, true,
-                                                              true, false)),
-                                                              (String ((Ascii
-                                                              (true, false,
-                                                              true, false,
-                                                              false, true,
-                                                              true, false)),
-                                                              (String ((Ascii
-                                                              (true, false,
-                                                              true, true,
-                                                              false, true,
-                                                              true, false)),
-                                                              (String ((Ascii
-                                                              (true, false,
-                                                              true, false,
-                                                              false, true,
-                                                              true, false)),
-                                                              (String ((Ascii
-                                                              (false, true,
-                                                              true, true,
-                                                              false, true,
-                                                              true, false)),
-                                                              (String ((Ascii
-                                                              (false, false,
-                                                              true, false,
-                                                              true, true,
-                                                              true, false)),
-                                                              (String ((Ascii
-                                                              (false, false,
-                                                              true, false,
-                                                              false, false,
-                                                              true, false)),
-                                                              (String ((Ascii
-                                                              (true, false,
-                                                              false, false,
-                                                              false, true,
-                                                              true, false)),
-                                                              (String ((Ascii
-                                                              (false, false,
-                                                              true, false,
-                                                              true, true,
-                                                              true, false)),
-                                                              (String ((Ascii
-                                                              (true, false,
-                                                              true, false,
-                                                              false, true,
-                                                              true, false)),
-                                                              EmptyString))))))))))))))))))))))))))))))))))))))))
-                                                              []) :: (
-    (mkcut (S (S (S (S (S (S (S (S (S (S (S (S (S (S (S (S (S (S (S (S (S (S
-      (S (S (S (S (S (S (S (S (S (S (S (S (S (S (S (S (S (S (S (S (S (S (S (S
-      (S (S (S (S (S (S (S (S (S (S
-      O)))))))))))))))))))))))))))))))))))))))))))))))))))))))) (S (S (S (S
-      (S (S (S (S (S (S (S (S (S (S (S (S (S (S (S (S (S (S (S (S (S (S (S (S
-      (S (S (S (S (S (S (S (S (S (S (S (S (S (S (S (S (S (S (S (S (S (S (S (S
-      (S (S (S (S (S (S
-      O)))))))))))))))))))))))))))))))))))))))))))))))))))))))))) (String
-      ((Ascii (false, true, false, false, true, false, true, false)), (String
-      ((Ascii (true, false, true, false, false, true, true, false)), (String
-      ((Ascii (false, false, true, false, true, true, true, false)), (String
-      ((Ascii (true, false, true, false, true, true, true, false)), (String
-      ((Ascii (false, true, false, false, true, true, true, false)), (String
-      ((Ascii (false, true, true, true, false, true, true, false)), (String
-      ((Ascii (false, true, false, false, true, false, true, false)), (String
-      ((Ascii (true, false, true, false, false, true, true, false)), (String
-      ((Ascii (true, false, false, false, false, true, true, false)), (String
-      ((Ascii (true, true, false, false, true, true, true, false)), (String
-      ((Ascii (true, true, true, true, false, true, true, false)), (String
-      ((Ascii (false, true, true, true, false, true, true, false)), (String
-      ((Ascii (true, true, false, false, false, false, true, false)), (String
-      ((Ascii (true, true, true, true, false, true, true, false)), (String
-      ((Ascii (false, false, true, false, false, true, true, false)), (String
-      ((Ascii (true, false, true, false, false, true, true, false)),
-      EmptyString)))))))))))))))))))))))))))))))) []) :: ((mkcut (S (S (S (S
-                                                            (S (S (S (S (S (S
-                                                            (S (S (S (S (S (S
-                                                            (S (S (S (S (S (S
-                                                            (S (S (S (S (S (S
-                                                            (S (S (S (S (S (S
-                                                            (S (S (S (S (S (S
-                                                            (S (S (S (S (S (S
-                                                            (S (S (S (S (S (S
-                                                            (S (S (S (S (S (S
-                                                            O))))))))))))))))))))))))))))))))))))))))))))))))))))))))))
-                                                            (S (S (S (S (S (S
-                                                            (S (S (S (S (S (S
-                                                            (S (S (S (S (S (S
-                                                            (S (S (S (S (S (S
-                                                            (S (S (S (S (S (S
-                                                            (S (S (S (S (S (S
-                                                            (S (S (S (S (S (S
-                                                            (S (S (S (S (S (S
-                                                            (S (S (S (S (S (S
-                                                            (S (S (S (S (S (S
-                                                            (S (S (S (S (S (S
-                                                            (S (S (S (S (S (S
-                                                            (S
-                                                            O)))))))))))))))))))))))))))))))))))))))))))))))))))))))))))))))))))))))))
-                                                            (String ((Ascii
-                                                            (false, false,
-                                                            true, false,
-                                                            false, false,
-                                                            true, false)),
-                                                            (String ((Ascii
-                                                            (true, false,
-                                                            false, true,
-                                                            false, true,
-                                                            true, false)),
-                                                            (String ((Ascii
-                                                            (true, true,
-                                                            false, false,
-                                                            true, true, true,
-                                                            false)), (String
-                                                            ((Ascii (false,
-                                                            false, false,
-                                                            true, false,
-                                                            true, true,
-                                                            false)), (String
-                                                            ((Ascii (true,
-                                                            true, true, true,
-                                                            false, true,
-                                                            true, false)),
-                                                            (String ((Ascii
-                                                            (false, true,
-                                                            true, true,
-                                                            false, true,
-                                                            true, false)),
-                                                            (String ((Ascii
-                                                            (true, true,
-                                                            true, true,
-                                                            false, true,
-                                                            true, false)),
-                                                            (String ((Ascii
-                                                            (false, true,
-                                                            false, false,
-                                                            true, true, true,
-                                                            false)), (String
-                                                            ((Ascii (true,
-                                                            false, true,
-                                                            false, false,
-                                                            true, true,
-                                                            false)), (String
-                                                            ((Ascii (false,
-                                                            false, true,
-                                                            false, false,
-                                                            true, true,
-                                                            false)), (String
-                                                            ((Ascii (false,
-                                                            true, false,
-                                                            false, true,
-                                                            false, true,
-                                                            false)), (String
-                                                            ((Ascii (true,
-                                                            false, true,
-                                                            false, false,
-                                                            true, true,
-                                                            false)), (String
-                                                            ((Ascii (false,
-                                                            false, true,
-                                                            false, true,
-                                                            true, true,
-                                                            false)), (String
-                                                            ((Ascii (true,
-                                                            false, true,
-                                                            false, true,
-                                                            true, true,
-                                                            false)), (String
-                                                            ((Ascii (false,
-                                                            true, false,
-                                                            false, true,
-                                                            true, true,
-                                                            false)), (String
-                                                            ((Ascii (false,
-                                                            true, true, true,
-                                                            false, true,
-                                                            true, false)),
-                                                            (String ((Ascii
-                                                            (false, false,
-                                                            true, false,
-                                                            true, false,
-                                                            true, false)),
-                                                            (String ((Ascii
-                                                            (false, true,
-                                                            false, false,
-                                                            true, true, true,
-                                                            false)), (String
-                                                            ((Ascii (true,
-                                                            false, false,
-                                                            false, false,
-                                                            true, true,
-                                                            false)), (String
-                                                            ((Ascii (true,
-                                                            true, false,
-                                                            false, false,
-                                                            true, true,
-                                                            false)), (String
-                                                            ((Ascii (true,
-                                                            false, true,
-                                                            false, false,
-                                                            true, true,
-                                                            false)), (String
-                                                            ((Ascii (false,
-                                                            true, true, true,
-                                                            false, false,
-                                                            true, false)),
-                                                            (String ((Ascii
-                                                            (true, false,
-                                                            true, false,
-                                                            true, true, true,
-                                                            false)), (String
-                                                            ((Ascii (true,
-                                                            false, true,
-                                                            true, false,
-                                                            true, true,
-                                                            false)), (String
-                                                            ((Ascii (false,
-                                                            true, false,
-                                                            false, false,
-                                                            true, true,
-                                                            false)), (String
-                                                            ((Ascii (true,
-                                                            false, true,
-                                                            false, false,
-                                                            true, true,
-                                                            false)), (String
-                                                            ((Ascii (false,
-                                                            true, false,
-                                                            false, true,
-                                                            true, true,
-                                                            false)),
-                                                            EmptyString))))))))))))))))))))))))))))))))))))))))))))))))))))))
-                                                            []) :: ((mkcut (S
-                                                                    (S (S (S
-                                                                    (S (S (S
-                                                                    (S (S (S
-                                                                    (S (S (S
-                                                                    (S (S (S
-                                                                    (S (S (S
-                                                                    (S (S (S
-                                                                    (S (S (S
-                                                                    (S (S (S
-                                                                    (S (S (S
-                                                                    (S (S (S
-                                                                    (S (S (S
-                                                                    (S (S (S
-                                                                    (S (S (S
-                                                                    (S (S (S
-                                                                    (S (S (S
-                                                                    (S (S (S
-                                                                    (S (S (S
-                                                                    (S (S (S
-                                                                    (S (S (S
-                                                                    (S (S (S
-                                                                    (S (S (S
-                                                                    (S (S (S
-                                                                    (S (S (S
-                                                                    O)))))))))))))))))))))))))))))))))))))))))))))))))))))))))))))))))))))))))
-                                                                    (S (S (S
-                                                                    (S (S (S
-                                                                    (S (S (S
-                                                                    (S (S (S
-                                                                    (S (S (S
-                                                                    (S (S (S
-                                                                    (S (S (S
-                                                                    (S (S (S
-                                                                    (S (S (S
-                                                                    (S (S (S
-                                                                    (S (S (S
-                                                                    (S (S (S
-                                                                    (S (S (S
-                                                                    (S (S (S
-                                                                    (S (S (S
-                                                                    (S (S (S
-                                                                    (S (S (S
-                                                                    (S (S (S
-                                                                    (S (S (S
-                                                                    (S (S (S
-                                                                    (S (S (S
-                                                                    (S (S (S
-                                                                    (S (S (S
-                                                                    (S (S (S
-                                                                    (S (S (S
-                                                                    (S
-                                                                    O))))))))))))))))))))))))))))))))))))))))))))))))))))))))))))))))))))))))))))
-                                                                    (String
-                                                                    ((Ascii
-                                                                    (false,
-                                                                    false,
-                                                                    true,
-                                                                    false,
-                                                                    false,
-                                                                    false,
-                                                                    true,
-                                                                    false)),
-                                                                    (String
-                                                                    ((Ascii
-                                                                    (true,
-                                                                    false,
-                                                                    false,
-                                                                    true,
-                                                                    false,
-                                                                    true,
-                                                                    true,
-                                                                    false)),
-                                                                    (String
-                                                                    ((Ascii
-                                                                    (true,
-                                                                    true,
-                                                                    false,
-                                                                    false,
-                                                                    true,
-                                                                    true,
-                                                                    true,
-                                                                    false)),
-                                                                    (String
-                                                                    ((Ascii
-                                                                    (false,
-                                                                    false,
-                                                                    false,
-                                                                    true,
-                                                                    false,
-                                                                    true,
-                                                                    true,
-                                                                    false)),
-                                                                    (String
-                                                                    ((Ascii
-                                                                    (true,
-                                                                    true,
-                                                                    true,
-                                                                    true,
-                                                                    false,
-                                                                    true,
-                                                                    true,
-                                                                    false)),
-                                                                    (String
-                                                                    ((Ascii
-                                                                    (false,
-                                                                    true,
-                                                                    true,
-                                                                    true,
-                                                                    false,
-                                                                    true,
-                                                                    true,
-                                                                    false)),
-                                                                    (String
-                                                                    ((Ascii
-                                                                    (true,
-                                                                    true,
-                                                                    true,
-                                                                    true,
-                                                                    false,
-                                                                    true,
-                                                                    true,
-                                                                    false)),
-                                                                    (String
-                                                                    ((Ascii
-                                                                    (false,
-                                                                    true,
-                                                                    false,
-                                                                    false,
-                                                                    true,
-                                                                    true,
-                                                                    true,
-                                                                    false)),
-                                                                    (String
-                                                                    ((Ascii
-                                                                    (true,
-                                                                    false,
-                                                                    true,
-                                                                    false,
-                                                                    false,
-                                                                    true,
-                                                                    true,
-                                                                    false)),
-                                                                    (String
-                                                                    ((Ascii
-                                                                    (false,
-                                                                    false,
-                                                                    true,
-                                                                    false,
-                                                                    false,
-                                                                    true,
-                                                                    true,
-                                                                    false)),
-                                                                    (String
-                                                                    ((Ascii
-                                                                    (false,
-                                                                    true,
-                                                                    false,
-                                                                    false,
-                                                                    true,
-                                                                    false,
-                                                                    true,
-                                                                    false)),
-                                                                    (String
-                                                                    ((Ascii
-                                                                    (true,
-                                                                    false,
-                                                                    true,
-                                                                    false,
-                                                                    false,
-                                                                    true,
-                                                                    true,
-                                                                    false)),
-                                                                    (String
-                                                                    ((Ascii
-                                                                    (false,
-                                                                    false,
-                                                                    true,
-                                                                    false,
-                                                                    true,
-                                                                    true,
-                                                                    true,
-                                                                    false)),
-                                                                    (String
-                                                                    ((Ascii
-                                                                    (true,
-                                                                    false,
-                                                                    true,
-                                                                    false,
-                                                                    true,
-                                                                    true,
-                                                                    true,
-                                                                    false)),
-                                                                    (String
-                                                                    ((Ascii
-                                                                    (false,
-                                                                    true,
-                                                                    false,
-                                                                    false,
-                                                                    true,
-                                                                    true,
-                                                                    true,
-                                                                    false)),
-                                                                    (String
-                                                                    ((Ascii
-                                                                    (false,
-                                                                    true,
-                                                                    true,
-                                                                    true,
-                                                                    false,
-                                                                    true,
-                                                                    true,
-                                                                    false)),
-                                                                    (String
-                                                                    ((Ascii
-                                                                    (true,
-                                                                    true,
-                                                                    false,
-                                                                    false,
-                                                                    true,
-                                                                    false,
-                                                                    true,
-                                                                    false)),
-                                                                    (String
-                                                                    ((Ascii
-                                                                    (true,
-                                                                    false,
-                                                                    true,
-                                                                    false,
-                                                                    false,
-                                                                    true,
-                                                                    true,
-                                                                    false)),
-                                                                    (String
-                                                                    ((Ascii
-                                                                    (false,
-                                                                    false,
-                                                                    true,
-                                                                    false,
-                                                                    true,
-                                                                    true,
-                                                                    true,
-                                                                    false)),
-                                                                    (String
-                                                                    ((Ascii
-                                                                    (false,
-                                                                    false,
-                                                                    true,
-                                                                    false,
-                                                                    true,
-                                                                    true,
-                                                                    true,
-                                                                    false)),
-                                                                    (String
-                                                                    ((Ascii
-                                                                    (false,
-                                                                    false,
-                                                                    true,
-                                                                    true,
-                                                                    false,
-                                                                    true,
-                                                                    true,
-                                                                    false)),
-                                                                    (String
-                                                                    ((Ascii
-                                                                    (true,
-                                                                    false,
-                                                                    true,
-                                                                    false,
-                                                                    false,
-                                                                    true,
-                                                                    true,
-                                                                    false)),
-                                                                    (String
-                                                                    ((Ascii
-                                                                    (true,
-                                                                    false,
-                                                                    true,
-                                                                    true,
-                                                                    false,
-                                                                    true,
-                                                                    true,
-                                                                    false)),
-                                                                    (String
-                                                                    ((Ascii
-                                                                    (true,
-                                                                    false,
-                                                                    true,
-                                                                    false,
-                                                                    false,
-                                                                    true,
-                                                                    true,
-                                                                    false)),
-                                                                    (String
-                                                                    ((Ascii
-                                                                    (false,
-                                                                    true,
-                                                                    true,
-                                                                    true,
-                                                                    false,
-                                                                    true,
-                                                                    true,
-                                                                    false)),
-                                                                    (String
-                                                                    ((Ascii
-                                                                    (false,
-                                                                    false,
-                                                                    true,
-                                                                    false,
-                                                                    true,
-                                                                    true,
-                                                                    true,
-                                                                    false)),
-                                                                    (String
-                                                                    ((Ascii
-                                                                    (false,
-                                                                    false,
-                                                                    true,
-                                                                    false,
-                                                                    false,
-                                                                    false,
-                                                                    true,
-                                                                    false)),
-                                                                    (String
-                                                                    ((Ascii
-                                                                    (true,
-                                                                    false,
-                                                                    false,
-                                                                    false,
-                                                                    false,
-                                                                    true,
-                                                                    true,
-                                                                    false)),
-                                                                    (String
-                                                                    ((Ascii
-                                                                    (false,
-                                                                    false,
-                                                                    true,
-                                                                    false,
-                                                                    true,
-                                                                    true,
-                                                                    true,
-                                                                    false)),
-                                                                    (String
-                                                                    ((Ascii
-                                                                    (true,
-                                                                    false,
-                                                                    true,
-                                                                    false,
-                                                                    false,
-                                                                    true,
-                                                                    true,
-                                                                    false)),
-                                                                    EmptyString))))))))))))))))))))))))))))))))))))))))))))))))))))))))))))
-                                                                    []) :: (
-    (mkcut (S (S (S (S (S (S (S (S (S (S (S (S (S (S (S (S (S (S (S (S (S (S
-      (S (S (S (S (S (S (S (S (S (S (S (S (S (S (S (S (S (S (S (S (S (S (S (S
-      (S (S (S (S (S (S (S (S (S (S (S (S (S (S (S (S (S (S (S (S (S (S (S (S
-      (S (S (S (S (S (S
-      O))))))))))))))))))))))))))))))))))))))))))))))))))))))))))))))))))))))))))))
-      (S (S (S (S (S (S (S (S (S (S (S (S (S (S (S (S (S (S (S (S (S (S (S (S
-      (S (S (S (S (S (S (S (S (S (S (S (S (S (S (S (S (S (S (S (S (S (S (S (S
-      (S (S (S (S (S (S (S (S (S (S (S (S (S (S (S (S (S (S (S (S (S (S (S (S
-      (S (S (S (S (S (S
-      O))))))))))))))))))))))))))))))))))))))))))))))))))))))))))))))))))))))))))))))
-      (String ((Ascii (false, false, true, false, false, false, true,
-      false)), (String ((Ascii (true, false, false, true, false, true, true,
-      false)), (String ((Ascii (true, true, false, false, true, true, true,
-      false)), (String ((Ascii (false, false, false, true, false, true, true,
-      false)), (String ((Ascii (true, true, true, true, false, true, true,
-      false)), (String ((Ascii (false, true, true, true, false, true, true,
-      false)), (String ((Ascii (true, true, true, true, false, true, true,
-      false)), (String ((Ascii (false, true, false, false, true, true, true,
-      false)), (String ((Ascii (true, false, true, false, false, true, true,
-      false)), (String ((Ascii (false, false, true, false, false, true, true,
-      false)), (String ((Ascii (false, true, false, false, true, false, true,
-      false)), (String ((Ascii (true, false, true, false, false, true, true,
-      false)), (String ((Ascii (false, false, true, false, true, true, true,
-      false)), (String ((Ascii (true, false, true, false, true, true, true,
-      false)), (String ((Ascii (false, true, false, false, true, true, true,
-      false)), (String ((Ascii (false, true, true, true, false, true, true,
-      false)), (String ((Ascii (false, true, false, false, true, false, true,
-      false)), (String ((Ascii (true, false, true, false, false, true, true,
-      false)), (String ((Ascii (true, false, false, false, false, true, true,
-      false)), (String ((Ascii (true, true, false, false, true, true, true,
-      false)), (String ((Ascii (true, true, true, true, false, true, true,
-      false)), (String ((Ascii (false, true, true, true, false, true, true,
-      false)), (String ((Ascii (true, true, false, false, false, false, true,
-      false)), (String ((Ascii (true, true, true, true, false, true, true,
-      false)), (String ((Ascii (false, false, true, false, false, true, true,
-      false)), (String ((Ascii (true, false, true, false, false, true, true,
-      false)),
-      EmptyString)))))))))))))))))))))))))))))))))))))))))))))))))))) []) :: (
-    (mkcut (S (S (S (S (S (S (S (S (S (S (S (S (S (S (S (S (S (S (S (S (S (S
-      (S (S (S (S (S (S (S (S (S (S (S (S (S (S (S (S (S (S (S (S (S (S (S (S
-      (S (S (S (S (S (S (S (S (S (S (S (S (S (S (S (S (S (S (S (S (S (S (S (S
-      (S (S (S (S (S (S (S (S
-      O))))))))))))))))))))))))))))))))))))))))))))))))))))))))))))))))))))))))))))))
-      (S (S (S (S (S (S (S (S (S (S (S (S (S (S (S (S (S (S (S (S (S (S (S (S
-      (S (S (S (S (S (S (S (S (S (S (S (S (S (S (S (S (S (S (S (S (S (S (S (S
-      (S (S (S (S (S (S (S (S (S (S (S (S (S (S (S (S (S (S (S (S (S (S (S (S
-      (S (S (S (S (S (S (S
-      O)))))))))))))))))))))))))))))))))))))))))))))))))))))))))))))))))))))))))))))))
-      EmptyString []) :: ((mkcut (S (S (S (S (S (S (S (S (S (S (S (S (S (S (S
-                            (S (S (S (S (S (S (S (S (S (S (S (S (S (S (S (S
-                            (S (S (S (S (S (S (S (S (S (S (S (S (S (S (S (S
-                            (S (S (S (S (S (S (S (S (S (S (S (S (S (S (S (S
-                            (S (S (S (S (S (S (S (S (S (S (S (S (S (S (S (S
-                            O)))))))))))))))))))))))))))))))))))))))))))))))))))))))))))))))))))))))))))))))
-                            (S (S (S (S (S (S (S (S (S (S (S (S (S (S (S (S
-                            (S (S (S (S (S (S (S (S (S (S (S (S (S (S (S (S
-                            (S (S (S (S (S (S (S (S (S (S (S (S (S (S (S (S
-                            (S (S (S (S (S (S (S (S (S (S (S (S (S (S (S (S
-                            (S (S (S (S (S (S (S (S (S (S (S (S (S (S (S (S
-                            (S (S (S (S (S (S (S (S (S (S (S (S (S (S
-                            O))))))))))))))))))))))))))))))))))))))))))))))))))))))))))))))))))))))))))))))))))))))))))))))
-                            (String ((Ascii (false, false, true, false, true,
-                            false, true, false)), (String ((Ascii (false,
-                            true, false, false, true, true, true, false)),
-                            (String ((Ascii (true, false, false, false,
-                            false, true, true, false)), (String ((Ascii
-                            (true, true, false, false, false, true, true,
-                            false)), (String ((Ascii (true, false, true,
-                            false, false, true, true, false)), (String
-                            ((Ascii (false, true, true, true, false, false,
-                            true, false)), (String ((Ascii (true, false,
-                            true, false, true, true, true, false)), (String
-                            ((Ascii (true, false, true, true, false, true,
-                            true, false)), (String ((Ascii (false, true,
-                            false, false, false, true, true, false)), (String
-                            ((Ascii (true, false, true, false, false, true,
-                            true, false)), (String ((Ascii (false, true,
-                            false, false, true, true, true, false)),
-                            EmptyString)))))))))))))))))))))) []) :: []))))))))))))))) }
-
-(** val l_Addenda99Dishonored : layout **)
-
-let l_Addenda99Dishonored =
-  { l_name = (String ((Ascii (true, false, false, false, false, false, true,
-    false)), (String ((Ascii (false, false, true, false, false, true, true,
-    false)), (String ((Ascii (false, false, true, false, false, true, true,
-    false)), (String ((Ascii (true, false, true, false, false, true, true,
-    false)), (String ((Ascii (false, true, true, true, false, true, true,
-    false)), (String ((Ascii (false, false, true, false, false, true, true,
-    false)), (String ((Ascii (true, false, false, false, false, true, true,
-    false)), (String ((Ascii (true, false, false, true, true, true, false,
-    false)), (String ((Ascii (true, false, false, true, true, true, false,
-    false)), (String ((Ascii (false, false, true, false, false, false, true,
-    false)), (String ((Ascii (true, false, false, true, false, true, true,
-    false)), (String ((Ascii (true, true, false, false, true, true, true,
-    false)), (String ((Ascii (false, false, false, true, false, true, true,
-    false)), (String ((Ascii (true, true, true, true, false, true, true,
-    false)), (String ((Ascii (false, true, true, true, false, true, true,
-    false)), (String ((Ascii (true, true, true, true, false, true, true,
-    false)), (String ((Ascii (false, true, false, false, true, true, true,
-    false)), (String ((Ascii (true, false, true, false, false, true, true,
-    false)), (String ((Ascii (false, false, true, false, false, true, true,
-    false)), EmptyString)))))))))))))))))))))))))))))))))))))); l_ix = IRune;
-    l_segs = ((SLit ((Npos (XI (XI (XI (XO (XI XH)))))) :: [])) :: ((SRaw
-    (String ((Ascii (false, false, true, false, true, false, true, false)),
-    (String ((Ascii (true, false, false, true, true, true, true, false)),
-    (String ((Ascii (false, false, false, false, true, true, true, false)),
-    (String ((Ascii (true, false, true, false, false, true, true, false)),
-    (String ((Ascii (true, true, false, false, false, false, true, false)),
-    (String ((Ascii (true, true, true, true, false, true, true, false)),
-    (String ((Ascii (false, false, true, false, false, true, true, false)),
-    (String ((Ascii (true, false, true, false, false, true, true, false)),
-    EmptyString))))))))))))))))) :: ((SStr ((String ((Ascii (false, false,
-    true, false, false, false, true, false)), (String ((Ascii (true, false,
-    false, true, false, true, true, false)), (String ((Ascii (true, true,
-    false, false, true, true, true, false)), (String ((Ascii (false, false,
-    false, true, false, true, true, false)), (String ((Ascii (true, true,
-    true, true, false, true, true, false)), (String ((Ascii (false, true,
-    true, true, false, true, true, false)), (String ((Ascii (true, true,
-    true, true, false, true, true, false)), (String ((Ascii (false, true,
-    false, false, true, true, true, false)), (String ((Ascii (true, false,
-    true, false, false, true, true, false)), (String ((Ascii (false, false,
-    true, false, false, true, true, false)), (String ((Ascii (false, true,
-    false, false, true, false, true, false)), (String ((Ascii (true, false,
-    true, false, false, true, true, false)), (String ((Ascii (false, false,
-    true, false, true, true, true, false)), (String ((Ascii (true, false,
-    true, false, true, true, true, false)), (String ((Ascii (false, true,
-    false, false, true, true, true, false)), (String ((Ascii (false, true,
-    true, true, false, true, true, false)), (String ((Ascii (false, true,
-    false, false, true, false, true, false)), (String ((Ascii (true, false,
-    true, false, false, true, true, false)), (String ((Ascii (true, false,
-    false, false, false, true, true, false)), (String ((Ascii (true, true,
-    false, false, true, true, true, false)), (String ((Ascii (true, true,
-    true, true, false, true, true, false)), (String ((Ascii (false, true,
-    true, true, false, true, true, false)), (String ((Ascii (true, true,
-    false, false, false, false, true, false)), (String ((Ascii (true, true,
-    true, true, false, true, true, false)), (String ((Ascii (false, false,
-    true, false, false, true, true, false)), (String ((Ascii (true, false,
-    true, false, false, true, true, false)),
-    EmptyString)))))))))))))))))))))))))))))))))))))))))))))))))))), (S (S (S
-    O))))) :: ((SStr ((String ((Ascii (true, true, true, true, false, false,
-    true, false)), (String ((Ascii (false, true, false, false, true, true,
-    true, false)), (String ((Ascii (true, false, false, true, false, true,
-    true, false)), (String ((Ascii (true, true, true, false, false, true,
-    true, false)), (String ((Ascii (true, false, false, true, false, true,
-    true, false)), (String ((Ascii (false, true, true, true, false, true,
-    true, false)), (String ((Ascii (true, false, false, false, false, true,
-    true, false)), (String ((Ascii (false, false, true, true, false, true,
-    true, false)), (String ((Ascii (true, false, true, false, false, false,
-    true, false)), (String ((Ascii (false, true, true, true, false, true,
-    true, false)), (String ((Ascii (false, false, true, false, true, true,
-    true, false)), (String ((Ascii (false, true, false, false, true, true,
-    true, false)), (String ((Ascii (true, false, false, true, true, true,
-    true, false)), (String ((Ascii (false, false, true, false, true, false,
-    true, false)), (String ((Ascii (false, true, false, false, true, true,
-    true, false)), (String ((Ascii (true, false, false, false, false, true,
-    true, false)), (String ((Ascii (true, true, false, false, false, true,
-    true, false)), (String ((Ascii (true, false, true, false, false, true,
-    true, false)), (String ((Ascii (false, true, true, true, false, false,
-    true, false)), (String ((Ascii (true, false, true, false, true, true,
-    true, false)), (String ((Ascii (true, false, true, true, false, true,
-    true, false)), (String ((Ascii (false, true, false, false, false, true,
-    true, false)), (String ((Ascii (true, false, true, false, false, true,
-    true, false)), (String ((Ascii (false, true, false, false, true, true,
-    true, false)),
-    EmptyString)))))))))))))))))))))))))))))))))))))))))))))))), (S (S (S (S
-    (S (S (S (S (S (S (S (S (S (S (S O))))))))))))))))) :: ((SLit ((Npos (XO
-    (XO (XO (XO (XO XH)))))) :: ((Npos (XO (XO (XO (XO (XO XH)))))) :: ((Npos
-    (XO (XO (XO (XO (XO XH)))))) :: ((Npos (XO (XO (XO (XO (XO
-    XH)))))) :: ((Npos (XO (XO (XO (XO (XO XH)))))) :: ((Npos (XO (XO (XO (XO
-    (XO XH)))))) :: []))))))) :: ((SStr ((String ((Ascii (true, true, true,
-    true, false, false, true, false)), (String ((Ascii (false, true, false,
-    false, true, true, true, false)), (String ((Ascii (true, false, false,
-    true, false, true, true, false)), (String ((Ascii (true, true, true,
-    false, false, true, true, false)), (String ((Ascii (true, false, false,
-    true, false, true, true, false)), (String ((Ascii (false, true, true,
-    true, false, true, true, false)), (String ((Ascii (true, false, false,
-    false, false, true, true, false)), (String ((Ascii (false, false, true,
-    true, false, true, true, false)), (String ((Ascii (false, true, false,
-    false, true, false, true, false)), (String ((Ascii (true, false, true,
-    false, false, true, true, false)), (String ((Ascii (true, true, false,
-    false, false, true, true, false)), (String ((Ascii (true, false, true,
-    false, false, true, true, false)), (String ((Ascii (true, false, false,
-    true, false, true, true, false)), (String ((Ascii (false, true, true,
-    false, true, true, true, false)), (String ((Ascii (true, false, false,
-    true, false, true, true, false)), (String ((Ascii (false, true, true,
-    true, false, true, true, false)), (String ((Ascii (true, true, true,
-    false, false, true, true, false)), (String ((Ascii (false, false, true,
-    false, false, false, true, false)), (String ((Ascii (false, true, true,
-    false, false, false, true, false)), (String ((Ascii (true, false, false,
-    true, false, false, true, false)), (String ((Ascii (true, false, false,
-    true, false, false, true, false)), (String ((Ascii (false, false, true,
-    false, false, true, true, false)), (String ((Ascii (true, false, true,
-    false, false, true, true, false)), (String ((Ascii (false, true, true,
-    true, false, true, true, false)), (String ((Ascii (false, false, true,
-    false, true, true, true, false)), (String ((Ascii (true, false, false,
-    true, false, true, true, false)), (String ((Ascii (false, true, true,
-    false, false, true, true, false)), (String ((Ascii (true, false, false,
-    true, false, true, true, false)), (String ((Ascii (true, true, false,
-    false, false, true, true, false)), (String ((Ascii (true, false, false,
-    false, false, true, true, false)), (String ((Ascii (false, false, true,
-    false, true, true, true, false)), (String ((Ascii (true, false, false,
-    true, false, true, true, false)), (String ((Ascii (true, true, true,
-    true, false, true, true, false)), (String ((Ascii (false, true, true,
-    true, false, true, true, false)),
-    EmptyString)))))))))))))))))))))))))))))))))))))))))))))))))))))))))))))))))))),
-    (S (S (S (S (S (S (S (S O)))))))))) :: ((SLit ((Npos (XO (XO (XO (XO (XO
-    XH)))))) :: ((Npos (XO (XO (XO (XO (XO XH)))))) :: ((Npos (XO (XO (XO (XO
-    (XO XH)))))) :: [])))) :: ((SStr ((String ((Ascii (false, true, false,
-    false, true, false, true, false)), (String ((Ascii (true, false, true,
-    false, false, true, true, false)), (String ((Ascii (false, false, true,
-    false, true, true, true, false)), (String ((Ascii (true, false, true,
-    false, true, true, true, false)), (String ((Ascii (false, true, false,
-    false, true, true, true, false)), (String ((Ascii (false, true, true,
-    true, false, true, true, false)), (String ((Ascii (false, false, true,
-    false, true, false, true, false)), (String ((Ascii (false, true, false,
-    false, true, true, true, false)), (String ((Ascii (true, false, false,
-    false, false, true, true, false)), (String ((Ascii (true, true, false,
-    false, false, true, true, false)), (String ((Ascii (true, false, true,
-    false, false, true, true, false)), (String ((Ascii (false, true, true,
-    true, false, false, true, false)), (String ((Ascii (true, false, true,
-    false, true, true, true, false)), (String ((Ascii (true, false, true,
-    true, false, true, true, false)), (String ((Ascii (false, true, false,
-    false, false, true, true, false)), (String ((Ascii (true, false, true,
-    false, false, true, true, false)), (String ((Ascii (false, true, false,
-    false, true, true, true, false)),
-    EmptyString)))))))))))))))))))))))))))))))))), (S (S (S (S (S (S (S (S (S
-    (S (S (S (S (S (S O))))))))))))))))) :: ((SStr ((String ((Ascii (false,
-    true, false, false, true, false, true, false)), (String ((Ascii (true,
-    false, true, false, false, true, true, false)), (String ((Ascii (false,
-    false, true, false, true, true, true, false)), (String ((Ascii (true,
-    false, true, false, true, true, true, false)), (String ((Ascii (false,
-    true, false, false, true, true, true, false)), (String ((Ascii (false,
-    true, true, true, false, true, true, false)), (String ((Ascii (true,
-    true, false, false, true, false, true, false)), (String ((Ascii (true,
-    false, true, false, false, true, true, false)), (String ((Ascii (false,
-    false, true, false, true, true, true, false)), (String ((Ascii (false,
-    false, true, false, true, true, true, false)), (String ((Ascii (false,
-    false, true, true, false, true, true, false)), (String ((Ascii (true,
-    false, true, false, false, true, true, false)), (String ((Ascii (true,
-    false, true, true, false, true, true, false)), (String ((Ascii (true,
-    false, true, false, false, true, true, false)), (String ((Ascii (false,
-    true, true, true, false, true, true, false)), (String ((Ascii (false,
-    false, true, false, true, true, true, false)), (String ((Ascii (false,
-    false, true, false, false, false, true, false)), (String ((Ascii (true,
-    false, false, false, false, true, true, false)), (String ((Ascii (false,
-    false, true, false, true, true, true, false)), (String ((Ascii (true,
-    false, true, false, false, true, true, false)),
-    EmptyString)))))))))))))))))))))))))))))))))))))))), (S (S (S
-    O))))) :: ((SStr ((String ((Ascii (false, true, false, false, true,
-    false, true, false)), (String ((Ascii (true, false, true, false, false,
-    true, true, false)), (String ((Ascii (false, false, true, false, true,
-    true, true, false)), (String ((Ascii (true, false, true, false, true,
-    true, true, false)), (String ((Ascii (false, true, false, false, true,
-    true, true, false)), (String ((Ascii (false, true, true, true, false,
-    true, true, false)), (String ((Ascii (false, true, false, false, true,
-    false, true, false)), (String ((Ascii (true, false, true, false, false,
-    true, true, false)), (String ((Ascii (true, false, false, false, false,
-    true, true, false)), (String ((Ascii (true, true, false, false, true,
-    true, true, false)), (String ((Ascii (true, true, true, true, false,
-    true, true, false)), (String ((Ascii (false, true, true, true, false,
-    true, true, false)), (String ((Ascii (true, true, false, false, false,
-    false, true, false)), (String ((Ascii (true, true, true, true, false,
-    true, true, false)), (String ((Ascii (false, false, true, false, false,
-    true, true, false)), (String ((Ascii (true, false, true, false, false,
-    true, true, false)), EmptyString)))))))))))))))))))))))))))))))), (S (S
-    O)))) :: ((SAlpha ((String ((Ascii (true, false, false, false, false,
-    false, true, false)), (String ((Ascii (false, false, true, false, false,
-    true, true, false)), (String ((Ascii (false, false, true, false, false,
-    true, true, false)), (String ((Ascii (true, false, true, false, false,
-    true, true, false)), (String ((Ascii (false, true, true, true, false,
-    true, true, false)), (String ((Ascii (false, false, true, false, false,
-    true, true, false)), (String ((Ascii (true, false, false, false, false,
-    true, true, false)), (String ((Ascii (true, false, false, true, false,
-    false, true, false)), (String ((Ascii (false, true, true, true, false,
-    true, true, false)), (String ((Ascii (false, true, true, false, false,
-    true, true, false)), (String ((Ascii (true, true, true, true, false,
-    true, true, false)), (String ((Ascii (false, true, false, false, true,
-    true, true, false)), (String ((Ascii (true, false, true, true, false,
-    true, true, false)), (String ((Ascii (true, false, false, false, false,
-    true, true, false)), (String ((Ascii (false, false, true, false, true,
-    true, true, false)), (String ((Ascii (true, false, false, true, false,
-    true, true, false)), (String ((Ascii (true, true, true, true, false,
-    true, true, false)), (String ((Ascii (false, true, true, true, false,
-    true, true, false)), EmptyString)))))))))))))))))))))))))))))))))))), (S
-    (S (S (S (S (S (S (S (S (S (S (S (S (S (S (S (S (S (S (S (S
-    O))))))))))))))))))))))) :: ((SStr ((String ((Ascii (false, false, true,
-    false, true, false, true, false)), (String ((Ascii (false, true, false,
-    false, true, true, true, false)), (String ((Ascii (true, false, false,
-    false, false, true, true, false)), (String ((Ascii (true, true, false,
-    false, false, true, true, false)), (String ((Ascii (true, false, true,
-    false, false, true, true, false)), (String ((Ascii (false, true, true,
-    true, false, false, true, false)), (String ((Ascii (true, false, true,
-    false, true, true, true, false)), (String ((Ascii (true, false, true,
-    true, false, true, true, false)), (String ((Ascii (false, true, false,
-    false, false, true, true, false)), (String ((Ascii (true, false, true,
-    false, false, true, true, false)), (String ((Ascii (false, true, false,
-    false, true, true, true, false)), EmptyString)))))))))))))))))))))), (S
-    (S (S (S (S (S (S (S (S (S (S (S (S (S (S
-    O))))))))))))))))) :: [])))))))))))); l_cuts =
-    ((mkcut O (S O) EmptyString []) :: ((mkcut (S O) (S (S (S O))) (String
-                                          ((Ascii (false, false, true, false,
-                                          true, false, true, false)), (String
-                                          ((Ascii (true, false, false, true,
-                                          true, true, true, false)), (String
-                                          ((Ascii (false, false, false,
-                                          false, true, true, true, false)),
-                                          (String ((Ascii (true, false, true,
-                                          false, false, true, true, false)),
-                                          (String ((Ascii (true, true, false,
-                                          false, false, false, true, false)),
-                                          (String ((Ascii (true, true, true,
-                                          true, false, true, true, false)),
-                                          (String ((Ascii (false, false,
-                                          true, false, false, true, true,
-                                          false)), (String ((Ascii (true,
-                                          false, true, false, false, true,
-                                          true, false)),
-                                          EmptyString)))))))))))))))) []) :: (
-    (mkcut (S (S (S O))) (S (S (S (S (S (S O)))))) (String ((Ascii (false,
-      false, true, false, false, false, true, false)), (String ((Ascii (true,
-      false, false, true, false, true, true, false)), (String ((Ascii (true,
-      true, false, false, true, true, true, false)), (String ((Ascii (false,
-      false, false, true, false, true, true, false)), (String ((Ascii (true,
-      true, true, true, false, true, true, false)), (String ((Ascii (false,
-      true, true, true, false, true, true, false)), (String ((Ascii (true,
-      true, true, true, false, true, true, false)), (String ((Ascii (false,
-      true, false, false, true, true, true, false)), (String ((Ascii (true,
-      false, true, false, false, true, true, false)), (String ((Ascii (false,
-      false, true, false, false, true, true, false)), (String ((Ascii (false,
-      true, false, false, true, false, true, false)), (String ((Ascii (true,
-      false, true, false, false, true, true, false)), (String ((Ascii (false,
-      false, true, false, true, true, true, false)), (String ((Ascii (true,
-      false, true, false, true, true, true, false)), (String ((Ascii (false,
-      true, false, false, true, true, true, false)), (String ((Ascii (false,
-      true, true, true, false, true, true, false)), (String ((Ascii (false,
-      true, false, false, true, false, true, false)), (String ((Ascii (true,
-      false, true, false, false, true, true, false)), (String ((Ascii (true,
-      false, false, false, false, true, true, false)), (String ((Ascii (true,
-      true, false, false, true, true, true, false)), (String ((Ascii (true,
-      true, true, true, false, true, true, false)), (String ((Ascii (false,
-      true, true, true, false, true, true, false)), (String ((Ascii (true,
-      true, false, false, false, false, true, false)), (String ((Ascii (true,
-      true, true, true, false, true, true, false)), (String ((Ascii (false,
-      false, true, false, false, true, true, false)), (String ((Ascii (true,
-      false, true, false, false, true, true, false)),
-      EmptyString)))))))))))))))))))))))))))))))))))))))))))))))))))) []) :: (
-    (mkcut (S (S (S (S (S (S O)))))) (S (S (S (S (S (S (S (S (S (S (S (S (S
-      (S (S (S (S (S (S (S (S O))))))))))))))))))))) (String ((Ascii (true,
-      true, true, true, false, false, true, false)), (String ((Ascii (false,
-      true, false, false, true, true, true, false)), (String ((Ascii (true,
-      false, false, true, false, true, true, false)), (String ((Ascii (true,
-      true, true, false, false, true, true, false)), (String ((Ascii (true,
-      false, false, true, false, true, true, false)), (String ((Ascii (false,
-      true, true, true, false, true, true, false)), (String ((Ascii (true,
-      false, false, false, false, true, true, false)), (String ((Ascii
-      (false, false, true, true, false, true, true, false)), (String ((Ascii
-      (true, false, true, false, false, false, true, false)), (String ((Ascii
-      (false, true, true, true, false, true, true, false)), (String ((Ascii
-      (false, false, true, false, true, true, true, false)), (String ((Ascii
-      (false, true, false, false, true, true, true, false)), (String ((Ascii
-      (true, false, false, true, true, true, true, false)), (String ((Ascii
-      (false, false, true, false, true, false, true, false)), (String ((Ascii
-      (false, true, false, false, true, true, true, false)), (String ((Ascii
-      (true, false, false, false, false, true, true, false)), (String ((Ascii
-      (true, true, false, false, false, true, true, false)), (String ((Ascii
-      (true, false, true, false, false, true, true, false)), (String ((Ascii
-      (false, true, true, true, false, false, true, false)), (String ((Ascii
-      (true, false, true, false, true, true, true, false)), (String ((Ascii
-      (true, false, true, true, false, true, true, false)), (String ((Ascii
-      (false, true, false, false, false, true, true, false)), (String ((Ascii
-      (true, false, true, false, false, true, true, false)), (String ((Ascii
-      (false, true, false, false, true, true, true, false)),
-      EmptyString)))))))))))))))))))))))))))))))))))))))))))))))) []) :: (
-    (mkcut (S (S (S (S (S (S (S (S (S (S (S (S (S (S (S (S (S (S (S (S (S
-      O))))))))))))))))))))) (S (S (S (S (S (S (S (S (S (S (S (S (S (S (S (S
-      (S (S (S (S (S (S (S (S (S (S (S O)))))))))))))))))))))))))))
-      EmptyString []) :: ((mkcut (S (S (S (S (S (S (S (S (S (S (S (S (S (S (S
-                            (S (S (S (S (S (S (S (S (S (S (S (S
-                            O))))))))))))))))))))))))))) (S (S (S (S (S (S (S
-                            (S (S (S (S (S (S (S (S (S (S (S (S (S (S (S (S
-                            (S (S (S (S (S (S (S (S (S (S (S (S
-                            O))))))))))))))))))))))))))))))))))) (String
-                            ((Ascii (true, true, true, true, false, false,
-                            true, false)), (String ((Ascii (false, true,
-                            false, false, true, true, true, false)), (String
-                            ((Ascii (true, false, false, true, false, true,
-                            true, false)), (String ((Ascii (true, true, true,
-                            false, false, true, true, false)), (String
-                            ((Ascii (true, false, false, true, false, true,
-                            true, false)), (String ((Ascii (false, true,
-                            true, true, false, true, true, false)), (String
-                            ((Ascii (true, false, false, false, false, true,
-                            true, false)), (String ((Ascii (false, false,
-                            true, true, false, true, true, false)), (String
-                            ((Ascii (false, true, false, false, true, false,
-                            true, false)), (String ((Ascii (true, false,
-                            true, false, false, true, true, false)), (String
-                            ((Ascii (true, true, false, false, false, true,
-                            true, false)), (String ((Ascii (true, false,
-                            true, false, false, true, true, false)), (String
-                            ((Ascii (true, false, false, true, false, true,
-                            true, false)), (String ((Ascii (false, true,
-                            true, false, true, true, true, false)), (String
-                            ((Ascii (true, false, false, true, false, true,
-                            true, false)), (String ((Ascii (false, true,
-                            true, true, false, true, true, false)), (String
-                            ((Ascii (true, true, true, false, false, true,
-                            true, false)), (String ((Ascii (false, false,
-                            true, false, false, false, true, false)), (String
-                            ((Ascii (false, true, true, false, false, false,
-                            true, false)), (String ((Ascii (true, false,
-                            false, true, false, false, true, false)), (String
-                            ((Ascii (true, false, false, true, false, false,
-                            true, false)), (String ((Ascii (false, false,
-                            true, false, false, true, true, false)), (String
-                            ((Ascii (true, false, true, false, false, true,
-                            true, false)), (String ((Ascii (false, true,
-                            true, true, false, true, true, false)), (String
-                            ((Ascii (false, false, true, false, true, true,
-                            true, false)), (String ((Ascii (true, false,
-                            false, true, false, true, true, false)), (String
-                            ((Ascii (false, true, true, false, false, true,
-                            true, false)), (String ((Ascii (true, false,
-                            false, true, false, true, true, false)), (String
-                            ((Ascii (true, true, false, false, false, true,
-                            true, false)), (String ((Ascii (true, false,
-                            false, false, false, true, true, false)), (String
-                            ((Ascii (false, false, true, false, true, true,
-                            true, false)), (String ((Ascii (true, false,
-                            false, true, false, true, true, false)), (String
-                            ((Ascii (true, true, true, true, false, true,
-                            true, false)), (String ((Ascii (false, true,
-                            true, true, false, true, true, false)),
-                            EmptyString))))))))))))))))))))))))))))))))))))))))))))))))))))))))))))))))))))
-                            []) :: ((mkcut (S (S (S (S (S (S (S (S (S (S (S
-                                      (S (S (S (S (S (S (S (S (S (S (S (S (S
-                                      (S (S (S (S (S (S (S (S (S (S (S
-                                      O))))))))))))))))))))))))))))))))))) (S
-                                      (S (S (S (S (S (S (S (S (S (S (S (S (S
-                                      (S (S (S (S (S (S (S (S (S (S (S (S (S
-                                      (S (S (S (S (S (S (S (S (S (S (S
-                                      O))))))))))))))))))))))))))))))))))))))
-                                      EmptyString []) :: ((mkcut (S (S (S (S
-                                                            (S (S (S (S (S (S
-                                                            (S (S (S (S (S (S
-                                                            (S (S (S (S (S (S
-                                                            (S (S (S (S (S (S
-                                                            (S (S (S (S (S (S
-                                                            (S (S (S (S
-                                                            O))))))))))))))))))))))))))))))))))))))
-                                                            (S (S (S (S (S (S
-                                                            (S (S (S (S (S (S
-                                                            (S (S (S (S (S (S
-                                                            (S (S (S (S (S (S
-                                                            (S (S (S (S (S (S
-                                                            (S (S (S (S (S (S
-                                                            (S (S (S (S (S (S
-                                                            (S (S (S (S (S (S
-                                                            (S (S (S (S (S
-                                                            O)))))))))))))))))))))))))))))))))))))))))))))))))))))
-                                                            (String ((Ascii
-                                                            (false, true,
-                                                            false, false,
-                                                            true, false,
-                                                            true, false)),
-                                                            (String ((Ascii
-                                                            (true, false,
-                                                            true, false,
-                                                            false, true,
-                                                            true, false)),
-                                                            (String ((Ascii
-                                                            (false, false,
-                                                            true, false,
-                                                            true, true, true,
-                                                            false)), (String
-                                                            ((Ascii (true,
-                                                            false, true,
-                                                            false, true,
-                                                            true, true,
-                                                            false)), (String
-                                                            ((Ascii (false,
-                                                            true, false,
-                                                            false, true,
-                                                            true, true,
-                                                            false)), (String
-                                                            ((Ascii (false,
-                                                            true, true, true,
-                                                            false, true,
-                                                            true, false)),
-                                                            (String ((Ascii
-                                                            (false, false,
-                                                            true, false,
-                                                            true, false,
-                                                            true, false)),
-                                                            (String ((Ascii
-                                                            (false, true,
-                                                            false, false,
-                                                            true, true, true,
-                                                            false)), (String
-                                                            ((Ascii (true,
-                                                            false, false,
-                                                            false, false,
-                                                            true, true,
-                                                            false)), (String
-                                                            ((Ascii (true,
-                                                            true, false,
-                                                            false, false,
-                                                            true, true,
-                                                            false)), (String
-                                                            ((Ascii (true,
-                                                            false, true,
-                                                            false, false,
-                                                            true, true,
-                                                            false)), (String
-                                                            ((Ascii (false,
-                                                            true, true, true,
-                                                            false, false,
-                                                            true, false)),
-                                                            (String ((Ascii
-                                                            (true, false,
-                                                            true, false,
-                                                            true, true, true,
-                                                            false)), (String
-                                                            ((Ascii (true,
-                                                            false, true,
-                                                            true, false,
-                                                            true, true,
-                                                            false)), (String
-                                                            ((Ascii (false,
-                                                            true, false,
-                                                            false, false,
-                                                            true, true,
-                                                            false)), (String
-                                                            ((Ascii (true,
-                                                            false, true,
-                                                            false, false,
-                                                            true, true,
-                                                            false)), (String
-                                                            ((Ascii (false,
-                                                            true, false,
-                                                            false, true,
-                                                            true, true,
-                                                            false)),
-                                                            EmptyString))))))))))))))))))))))))))))))))))
-                                                            []) :: ((mkcut (S
-                                                                    (S (S (S
-                                                                    (S (S (S
-                                                                    (S (S (S
-                                                                    (S (S (S
-                                                                    (S (S (S
-                                                                    (S (S (S
-                                                                    (S (S (S
-                                                                    (S (S (S
-                                                                    (S (S (S
-                                                                    (S (S (S
-                                                                    (S (S (S
-                                                                    (S (S (S
-                                                                    (S (S (S
-                                                                    (S (S (S
-                                                                    (S (S (S
-                                                                    (S (S (S
-                                                                    (S (S (S
-                                                                    (S
-                                                                    O)))))))))))))))))))))))))))))))))))))))))))))))))))))
-                                                                    (S (S (S
-                                                                    (S (S (S
-                                                                    (S (S (S
-                                                                    (S (S (S
-                                                                    (S (S (S
-                                                                    (S (S (S
-                                                                    (S (S (S
-                                                                    (S (S (S
-                                                                    (S (S (S
-                                                                    (S (S (S
-                                                                    (S (S (S
-                                                                    (S (S (S
-                                                                    (S (S (S
-                                                                    (S (S (S
-                                                                    (S (S (S
-                                                                    (S (S (S
-                                                                    (S (S (S
-                                                                    (S (S (S
-                                                                    (S (S
-                                                                    O))))))))))))))))))))))))))))))))))))))))))))))))))))))))
-                                                                    (String
-                                                                    ((Ascii
-                                                                    (false,
-                                                                    true,
-                                                                    false,
-                                                                    false,
-                                                                    true,
-                                                                    false,
-                                                                    true,
-                                                                    false)),
-                                                                    (String
-                                                                    ((Ascii
-                                                                    (true,
-                                                                    false,
-                                                                    true,
-                                                                    false,
-                                                                    false,
-                                                                    true,
-                                                                    true,
-                                                                    false)),
-                                                                    (String
-                                                                    ((Ascii
-                                                                    (false,
-                                                                    false,
-                                                                    true,
-                                                                    false,
-                                                                    true,
-                                                                    true,
-                                                                    true,
-                                                                    false)),
-                                                                    (String
-                                                                    ((Ascii
-                                                                    (true,
-                                                                    false,
-                                                                    true,
-                                                                    false,
-                                                                    true,
-                                                                    true,
-                                                                    true,
-                                                                    false)),
-                                                                    (String
-                                                                    ((Ascii
-                                                                    (false,
-                                                                    true,
-                                                                    false,
-                                                                    false,
-                                                                    true,
-                                                                    true,
-                                                                    true,
-                                                                    false)),
-                                                                    (String
-                                                                    ((Ascii
-                                                                    (false,
-                                                                    true,
-                                                                    true,
-                                                                    true,
-                                                                    false,
-                                                                    true,
-                                                                    true,
-                                                                    false)),
-                                                                    (String
-                                                                    ((Ascii
-                                                                    (true,
-                                                                    true,
-                                                                    false,
-                                                                    false,
-                                                                    true,
-                                                                    false,
-                                                                    true,
-                                                                    false)),
-                                                                    (String
-                                                                    ((Ascii
-                                                                    (true,
-                                                                    false,
-                                                                    true,
-                                                                    false,
-                                                                    false,
-                                                                    true,
-                                                                    true,
-                                                                    false)),
-                                                                    (String
-                                                                    ((Ascii
-                                                                    (false,
-                                                                    false,
-                                                                    true,
-                                                                    false,
-                                                                    true,
-                                                                    true,
-                                                                    true,
-                                                                    false)),
-                                                                    (String
-                                                                    ((Ascii
-                                                                    (false,
-                                                                    false,
-                                                                    true,
-                                                                    false,
-                                                                    true,
-                                                                    true,
-                                                                    true,
-                                                                    false)),
-                                                                    (String
-                                                                    ((Ascii
-                                                                    (false,
-                                                                    false,
-                                                                    true,
-                                                                    true,
-                                                                    false,
-                                                                    true,
-                                                                    true,
-                                                                    false)),
-                                                                    (String
-                                                                    ((Ascii
-                                                                    (true,
-                                                                    false,
-                                                                    true,
-                                                                    false,
-                                                                    false,
-                                                                    true,
-                                                                    true,
-                                                                    false)),
-                                                                    (String
-                                                                    ((Ascii
-                                                                    (true,
-                                                                    false,
-                                                                    true,
-                                                                    true,
-                                                                    false,
-                                                                    true,
-                                                                    true,
-                                                                    false)),
-                                                                    (String
-                                                                    ((Ascii
-                                                                    (true,
-                                                                    false,
-                                                                    true,
-                                                                    false,
-                                                                    false,
-                                                                    true,
-                                                                    true,
-                                                                    false)),
-                                                                    (String
-                                                                    ((Ascii
-                                                                    (false,
-                                                                    true,
-                                                                    true,
-                                                                    true,
-                                                                    false,
-                                                                    true,
-                                                                    true,
-                                                                    false)),
-                                                                    (String
-                                                                    ((Ascii
-                                                                    (false,
-                                                                    false,
-                                                                    true,
-                                                                    false,
-                                                                    true,
-                                                                    true,
-                                                                    true,
-                                                                    false)),
-                                                                    (String
-                                                                    ((Ascii
-                                                                    (false,
-                                                                    false,
-                                                                    true,
-                                                                    false,
-                                                                    false,
-                                                                    false,
-                                                                    true,
-                                                                    false)),
-                                                                    (String
-                                                                    ((Ascii
-                                                                    (true,
-                                                                    false,
-                                                                    false,
-                                                                    false,
-                                                                    false,
-                                                                    true,
-                                                                    true,
-                                                                    false)),
-                                                                    (String
-                                                                    ((Ascii
-                                                                    (false,
-                                                                    false,
-                                                                    true,
-                                                                    false,
-                                                                    true,
-                                                                    true,
-                                                                    true,
-                                                                    false)),
-                                                                    (String
-                                                                    ((Ascii
-                                                                    (true,
-                                                                    false,
-                                                                    true,
-                                                                    false,
-                                                                    false,
-                                                                    true,
-                                                                    true,
-                                                                    false)),
-                                                                    EmptyString))))))))))))))))))))))))))))))))))))))))
-                                                                    []) :: (
-    (mkcut (S (S (S (S (S (S (S (S (S (S (S (S (S (S (S (S (S (S (S (S (S (S
-      (S (S (S (S (S (S (S (S (S (S (S (S (S (S (S (S (S (S (S (S (S (S (S (S
-      (S (S (S (S (S (S (S (S (S (S
-      O)))))))))))))))))))))))))))))))))))))))))))))))))))))))) (S (S (S (S
-      (S (S (S (S (S (S (S (S (S (S (S (S (S (S (S (S (S (S (S (S (S (S (S (S
-      (S (S (S (S (S (S (S (S (S (S (S (S (S (S (S (S (S (S (S (S (S (S (S (S
-      (S (S (S (S (S (S
-      O)))))))))))))))))))))))))))))))))))))))))))))))))))))))))) (String
-      ((Ascii (false, true, false, false, true, false, true, false)), (String
-      ((Ascii (true, false, true, false, false, true, true, false)), (String
-      ((Ascii (false, false, true, false, true, true, true, false)), (String
-      ((Ascii (true, false, true, false, true, true, true, false)), (String
-      ((Ascii (false, true, false, false, true, true, true, false)), (String
-      ((Ascii (false, true, true, true, false, true, true, false)), (String
-      ((Ascii (false, true, false, false, true, false, true, false)), (String
-      ((Ascii (true, false, true, false, false, true, true, false)), (String
-      ((Ascii (true, false, false, false, false, true, true, false)), (String
-      ((Ascii (true, true, false, false, true, true, true, false)), (String
-      ((Ascii (true, true, true, true, false, true, true, false)), (String
-      ((Ascii (false, true, true, true, false, true, true, false)), (String
-      ((Ascii (true, true, false, false, false, false, true, false)), (String
-      ((Ascii (true, true, true, true, false, true, true, false)), (String
-      ((Ascii (false, false, true, false, false, true, true, false)), (String
-      ((Ascii (true, false, true, false, false, true, true, false)),
-      EmptyString)))))))))))))))))))))))))))))))) []) :: ((mkcut (S (S (S (S
-                                                            (S (S (S (S (S (S
-                                                            (S (S (S (S (S (S
-                                                            (S (S (S (S (S (S
-                                                            (S (S (S (S (S (S
-                                                            (S (S (S (S (S (S
-                                                            (S (S (S (S (S (S
-                                                            (S (S (S (S (S (S
-                                                            (S (S (S (S (S (S
-                                                            (S (S (S (S (S (S
-                                                            O))))))))))))))))))))))))))))))))))))))))))))))))))))))))))
-                                                            (S (S (S (S (S (S
-                                                            (S (S (S (S (S (S
-                                                            (S (S (S (S (S (S
-                                                            (S (S (S (S (S (S
-                                                            (S (S (S (S (S (S
-                                                            (S (S (S (S (S (S
-                                                            (S (S (S (S (S (S
-                                                            (S (S (S (S (S (S
-                                                            (S (S (S (S (S (S
-                                                            (S (S (S (S (S (S
-                                                            (S (S (S (S (S (S
-                                                            (S (S (S (S (S (S
-                                                            (S (S (S (S (S (S
-                                                            (S
-                                                            O)))))))))))))))))))))))))))))))))))))))))))))))))))))))))))))))))))))))))))))))
-                                                            (String ((Ascii
-                                                            (true, false,
-                                                            false, false,
-                                                            false, false,
-                                                            true, false)),
-                                                            (String ((Ascii
-                                                            (false, false,
-                                                            true, false,
-                                                            false, true,
-                                                            true, false)),
-                                                            (String ((Ascii
-                                                            (false, false,
-                                                            true, false,
-                                                            false, true,
-                                                            true, false)),
-                                                            (String ((Ascii
-                                                            (true, false,
-                                                            true, false,
-                                                            false, true,
-                                                            true, false)),
-                                                            (String ((Ascii
-                                                            (false, true,
-                                                            true, true,
-                                                            false, true,
-                                                            true, false)),
-                                                            (String ((Ascii
-                                                            (false, false,
-                                                            true, false,
-                                                            false, true,
-                                                            true, false)),
-                                                            (String ((Ascii
-                                                            (true, false,
-                                                            false, false,
-                                                            false, true,
-                                                            true, false)),
-                                                            (String ((Ascii
-                                                            (true, false,
-                                                            false, true,
-                                                            false, false,
-                                                            true, false)),
-                                                            (String ((Ascii
-                                                            (false, true,
-                                                            true, true,
-                                                            false, true,
-                                                            true, false)),
-                                                            (String ((Ascii
-                                                            (false, true,
-                                                            true, false,
-                                                            false, true,
-                                                            true, false)),
-                                                            (String ((Ascii
-                                                            (true, true,
-                                                            true, true,
-                                                            false, true,
-                                                            true, false)),
-                                                            (String ((Ascii
-                                                            (false, true,
-                                                            false, false,
-                                                            true, true, true,
-                                                            false)), (String
-                                                            ((Ascii (true,
-                                                            false, true,
-                                                            true, false,
-                                                            true, true,
-                                                            false)), (String
-                                                            ((Ascii (true,
-                                                            false, false,
-                                                            false, false,
-                                                            true, true,
-                                                            false)), (String
-                                                            ((Ascii (false,
-                                                            false, true,
-                                                            false, true,
-                                                            true, true,
-                                                            false)), (String
-                                                            ((Ascii (true,
-                                                            false, false,
-                                                            true, false,
-                                                            true, true,
-                                                            false)), (String
-                                                            ((Ascii (true,
-                                                            true, true, true,
-                                                            false, true,
-                                                            true, false)),
-                                                            (String ((Ascii
-                                                            (false, true,
-                                                            true, true,
-                                                            false, true,
-                                                            true, false)),
-                                                            EmptyString))))))))))))))))))))))))))))))))))))
-                                                            []) :: ((mkcut (S
-                                                                    (S (S (S
-                                                                    (S (S (S
-                                                                    (S (S (S
-                                                                    (S (S (S
-                                                                    (S (S (S
-                                                                    (S (S (S
-                                                                    (S (S (S
-                                                                    (S (S (S
-                                                                    (S (S (S
-                                                                    (S (S (S
-                                                                    (S (S (S
-                                                                    (S (S (S
-                                                                    (S (S (S
-                                                                    (S (S (S
-                                                                    (S (S (S
-                                                                    (S (S (S
-                                                                    (S (S (S
-                                                                    (S (S (S
-                                                                    (S (S (S
-                                                                    (S (S (S
-                                                                    (S (S (S
-                                                                    (S (S (S
-                                                                    (S (S (S
-                                                                    (S (S (S
-                                                                    (S (S (S
-                                                                    (S (S (S
-                                                                    O)))))))))))))))))))))))))))))))))))))))))))))))))))))))))))))))))))))))))))))))
-                                                                    (S (S (S
-                                                                    (S (S (S
-                                                                    (S (S (S
-                                                                    (S (S (S
-                                                                    (S (S (S
-                                                                    (S (S (S
-                                                                    (S (S (S
-                                                                    (S (S (S
-                                                                    (S (S (S
-                                                                    (S (S (S
-                                                                    (S (S (S
-                                                                    (S (S (S
-                                                                    (S (S (S
-                                                                    (S (S (S
-                                                                    (S (S (S
-                                                                    (S (S (S
-                                                                    (S (S (S
-                                                                    (S (S (S
-                                                                    (S (S (S
-                                                                    (S (S (S
-                                                                    (S (S (S
-                                                                    (S (S (S
-                                                                    (S (S (S
-                                                                    (S (S (S
-                                                                    (S (S (S
-                                                                    (S (S (S
-                                                                    (S (S (S
-                                                                    (S (S (S
-                                                                    (S (S (S
-                                                                    (S (S (S
-                                                                    (S (S (S
-                                                                    (S
-                                                                    O))))))))))))))))))))))))))))))))))))))))))))))))))))))))))))))))))))))))))))))))))))))))))))))
-                                                                    (String
-                                                                    ((Ascii
-                                                                    (false,
-                                                                    false,
-                                                                    true,
-                                                                    false,
-                                                                    true,
-                                                                    false,
-                                                                    true,
-                                                                    false)),
-                                                                    (String
-                                                                    ((Ascii
-                                                                    (false,
-                                                                    true,
-                                                                    false,
-                                                                    false,
-                                                                    true,
-                                                                    true,
-                                                                    true,
-                                                                    false)),
-                                                                    (String
-                                                                    ((Ascii
-                                                                    (true,
-                                                                    false,
-                                                                    false,
-                                                                    false,
-                                                                    false,
-                                                                    true,
-                                                                    true,
-                                                                    false)),
-                                                                    (String
-                                                                    ((Ascii
-                                                                    (true,
-                                                                    true,
-                                                                    false,
-                                                                    false,
-                                                                    false,
-                                                                    true,
-                                                                    true,
-                                                                    false)),
-                                                                    (String
-                                                                    ((Ascii
-                                                                    (true,
-                                                                    false,
-                                                                    true,
-                                                                    false,
-                                                                    false,
-                                                                    true,
-                                                                    true,
-                                                                    false)),
-                                                                    (String
-                                                                    ((Ascii
-                                                                    (false,
-                                                                    true,
-                                                                    true,
-                                                                    true,
-                                                                    false,
-                                                                    false,
-                                                                    true,
-                                                                    false)),
-                                                                    (String
-                                                                    ((Ascii
-                                                                    (true,
-                                                                    false,
-                                                                    true,
-                                                                    false,
-                                                                    true,
-                                                                    true,
-                                                                    true,
-                                                                    false)),
-                                                                    (String
-                                                                    ((Ascii
-                                                                    (true,
-                                                                    false,
-                                                                    true,
-                                                                    true,
-                                                                    false,
-                                                                    true,
-                                                                    true,
-                                                                    false)),
-                                                                    (String
-                                                                    ((Ascii
-                                                                    (false,
-                                                                    true,
-                                                                    false,
-                                                                    false,
-                                                                    false,
-                                                                    true,
-                                                                    true,
-                                                                    false)),
-                                                                    (String
-                                                                    ((Ascii
-                                                                    (true,
-                                                                    false,
-                                                                    true,
-                                                                    false,
-                                                                    false,
-                                                                    true,
-                                                                    true,
-                                                                    false)),
-                                                                    (String
-                                                                    ((Ascii
-                                                                    (false,
-                                                                    true,
-                                                                    false,
-                                                                    false,
-                                                                    true,
-                                                                    true,
-                                                                    true,
-                                                                    false)),
-                                                                    EmptyString))))))))))))))))))))))
-                                                                    []) :: [])))))))))))) }
-
-(** val l_BatchControl : layout **)
-
-let l_BatchControl =
-  { l_name = (String ((Ascii (false, true, false, false, false, false, true,
-    false)), (String ((Ascii (true, false, false, false, false, true, true,
-    false)), (String ((Ascii (false, false, true, false, true, true, true,
-    false)), (String ((Ascii (true, true, false, false, false, true, true,
-    false)), (String ((Ascii (false, false, false, true, false, true, true,
-    false)), (String ((Ascii (true, true, false, false, false, false, true,
-    false)), (String ((Ascii (true, true, true, true, false, true, true,
-    false)), (String ((Ascii (false, true, true, true, false, true, true,
-    false)), (String ((Ascii (false, false, true, false, true, true, true,
-    false)), (String ((Ascii (false, true, false, false, true, true, true,
-    false)), (String ((Ascii (true, true, true, true, false, true, true,
-    false)), (String ((Ascii (false, false, true, true, false, true, true,
-    false)), EmptyString)))))))))))))))))))))))); l_ix = IByte; l_segs =
-    ((SLit ((Npos (XO (XO (XO (XI (XI XH)))))) :: [])) :: ((SItoa (String
-    ((Ascii (true, true, false, false, true, false, true, false)), (String
-    ((Ascii (true, false, true, false, false, true, true, false)), (String
-    ((Ascii (false, true, false, false, true, true, true, false)), (String
-    ((Ascii (false, true, true, false, true, true, true, false)), (String
-    ((Ascii (true, false, false, true, false, true, true, false)), (String
-    ((Ascii (true, true, false, false, false, true, true, false)), (String
-    ((Ascii (true, false, true, false, false, true, true, false)), (String
-    ((Ascii (true, true, false, false, false, false, true, false)), (String
-    ((Ascii (false, false, true, true, false, true, true, false)), (String
-    ((Ascii (true, false, false, false, false, true, true, false)), (String
-    ((Ascii (true, true, false, false, true, true, true, false)), (String
-    ((Ascii (true, true, false, false, true, true, true, false)), (String
-    ((Ascii (true, true, false, false, false, false, true, false)), (String
-    ((Ascii (true, true, true, true, false, true, true, false)), (String
-    ((Ascii (false, false, true, false, false, true, true, false)), (String
-    ((Ascii (true, false, true, false, false, true, true, false)),
-    EmptyString))))))))))))))))))))))))))))))))) :: ((SNum ((String ((Ascii
-    (true, false, true, false, false, false, true, false)), (String ((Ascii
-    (false, true, true, true, false, true, true, false)), (String ((Ascii
-    (false, false, true, false, true, true, true, false)), (String ((Ascii
-    (false, true, false, false, true, true, true, false)), (String ((Ascii
-    (true, false, false, true, true, true, true, false)), (String ((Ascii
-    (true, false, false, false, false, false, true, false)), (String ((Ascii
-    (false, false, true, false, false, true, true, false)), (String ((Ascii
-    (false, false, true, false, false, true, true, false)), (String ((Ascii
-    (true, false, true, false, false, true, true, false)), (String ((Ascii
-    (false, true, true, true, false, true, true, false)), (String ((Ascii
-    (false, false, true, false, false, true, true, false)), (String ((Ascii
-    (true, false, false, false, false, true, true, false)), (String ((Ascii
-    (true, true, false, false, false, false, true, false)), (String ((Ascii
-    (true, true, true, true, false, true, true, false)), (String ((Ascii
-    (true, false, true, false, true, true, true, false)), (String ((Ascii
-    (false, true, true, true, false, true, true, false)), (String ((Ascii
-    (false, false, true, false, true, true, true, false)),
-    EmptyString)))))))))))))))))))))))))))))))))), (S (S (S (S (S (S
-    O)))))))) :: ((SNum ((String ((Ascii (true, false, true, false, false,
-    false, true, false)), (String ((Ascii (false, true, true, true, false,
-    true, true, false)), (String ((Ascii (false, false, true, false, true,
-    true, true, false)), (String ((Ascii (false, true, false, false, true,
-    true, true, false)), (String ((Ascii (true, false, false, true, true,
-    true, true, false)), (String ((Ascii (false, false, false, true, false,
-    false, true, false)), (String ((Ascii (true, false, false, false, false,
-    true, true, false)), (String ((Ascii (true, true, false, false, true,
-    true, true, false)), (String ((Ascii (false, false, false, true, false,
-    true, true, false)), EmptyString)))))))))))))))))), (S (S (S (S (S (S (S
-    (S (S (S O)))))))))))) :: ((SNum ((String ((Ascii (false, false, true,
-    false, true, false, true, false)), (String ((Ascii (true, true, true,
-    true, false, true, true, false)), (String ((Ascii (false, false, true,
-    false, true, true, true, false)), (String ((Ascii (true, false, false,
-    false, false, true, true, false)), (String ((Ascii (false, false, true,
-    true, false, true, true, false)), (String ((Ascii (false, false, true,
-    false, false, false, true, false)), (String ((Ascii (true, false, true,
-    false, false, true, true, false)), (String ((Ascii (false, true, false,
-    false, false, true, true, false)), (String ((Ascii (true, false, false,
-    true, false, true, true, false)), (String ((Ascii (false, false, true,
-    false, true, true, true, false)), (String ((Ascii (true, false, true,
-    false, false, false, true, false)), (String ((Ascii (false, true, true,
-    true, false, true, true, false)), (String ((Ascii (false, false, true,
-    false, true, true, true, false)), (String ((Ascii (false, true, false,
-    false, true, true, true, false)), (String ((Ascii (true, false, false,
-    true, true, true, true, false)), (String ((Ascii (false, false, true,
-    false, false, false, true, false)), (String ((Ascii (true, true, true,
-    true, false, true, true, false)), (String ((Ascii (false, false, true,
-    true, false, true, true, false)), (String ((Ascii (false, false, true,
-    true, false, true, true, false)), (String ((Ascii (true, false, false,
-    false, false, true, true, false)), (String ((Ascii (false, true, false,
-    false, true, true, true, false)), (String ((Ascii (true, false, false,
-    false, false, false, true, false)), (String ((Ascii (true, false, true,
-    true, false, true, true, false)), (String ((Ascii (true, true, true,
-    true, false, true, true, false)), (String ((Ascii (true, false, true,
-    false, true, true, true, false)), (String ((Ascii (false, true, true,
-    true, false, true, true, false)), (String ((Ascii (false, false, true,
-    false, true, true, true, false)),
-    EmptyString)))))))))))))))))))))))))))))))))))))))))))))))))))))), (S (S
-    (S (S (S (S (S (S (S (S (S (S O)))))))))))))) :: ((SNum ((String ((Ascii
-    (false, false, true, false, true, false, true, false)), (String ((Ascii
-    (true, true, true, true, false, true, true, false)), (String ((Ascii
-    (false, false, true, false, true, true, true, false)), (String ((Ascii
-    (true, false, false, false, false, true, true, false)), (String ((Ascii
-    (false, false, true, true, false, true, true, false)), (String ((Ascii
-    (true, true, false, false, false, false, true, false)), (String ((Ascii
-    (false, true, false, false, true, true, true, false)), (String ((Ascii
-    (true, false, true, false, false, true, true, false)), (String ((Ascii
-    (false, false, true, false, false, true, true, false)), (String ((Ascii
-    (true, false, false, true, false, true, true, false)), (String ((Ascii
-    (false, false, true, false, true, true, true, false)), (String ((Ascii
-    (true, false, true, false, false, false, true, false)), (String ((Ascii
-    (false, true, true, true, false, true, true, false)), (String ((Ascii
-    (false, false, true, false, true, true, true, false)), (String ((Ascii
-    (false, true, false, false, true, true, true, false)), (String ((Ascii
-    (true, false, false, true, true, true, true, false)), (String ((Ascii
-    (false, false, true, false, false, false, true, false)), (String ((Ascii
-    (true, true, true, true, false, true, true, false)), (String ((Ascii
-    (false, false, true, true, false, true, true, false)), (String ((Ascii
-    (false, false, true, true, false, true, true, false)), (String ((Ascii
-    (true, false, false, false, false, true, true, false)), (String ((Ascii
-    (false, true, false, false, true, true, true, false)), (String ((Ascii
-    (true, false, false, false, false, false, true, false)), (String ((Ascii
-    (true, false, true, true, false, true, true, false)), (String ((Ascii
-    (true, true, true, true, false, true, true, false)), (String ((Ascii
-    (true, false, true, false, true, true, true, false)), (String ((Ascii
-    (false, true, true, true, false, true, true, false)), (String ((Ascii
-    (false, false, true, false, true, true, true, false)),
-    EmptyString)))))))))))))))))))))))))))))))))))))))))))))))))))))))), (S
-    (S (S (S (S (S (S (S (S (S (S (S O)))))))))))))) :: ((SAlpha ((String
-    ((Ascii (true, true, false, false, false, false, true, false)), (String
-    ((Ascii (true, true, true, true, false, true, true, false)), (String
-    ((Ascii (true, false, true, true, false, true, true, false)), (String
-    ((Ascii (false, false, false, false, true, true, true, false)), (String
-    ((Ascii (true, false, false, false, false, true, true, false)), (String
-    ((Ascii (false, true, true, true, false, true, true, false)), (String
-    ((Ascii (true, false, false, true, true, true, true, false)), (String
-    ((Ascii (true, false, false, true, false, false, true, false)), (String
-    ((Ascii (false, false, true, false, false, true, true, false)), (String
-    ((Ascii (true, false, true, false, false, true, true, false)), (String
-    ((Ascii (false, true, true, true, false, true, true, false)), (String
-    ((Ascii (false, false, true, false, true, true, true, false)), (String
-    ((Ascii (true, false, false, true, false, true, true, false)), (String
-    ((Ascii (false, true, true, false, false, true, true, false)), (String
-    ((Ascii (true, false, false, true, false, true, true, false)), (String
-    ((Ascii (true, true, false, false, false, true, true, false)), (String
-    ((Ascii (true, false, false, false, false, true, true, false)), (String
-    ((Ascii (false, false, true, false, true, true, true, false)), (String
-    ((Ascii (true, false, false, true, false, true, true, false)), (String
-    ((Ascii (true, true, true, true, false, true, true, false)), (String
-    ((Ascii (false, true, true, true, false, true, true, false)),
-    EmptyString)))))))))))))))))))))))))))))))))))))))))), (S (S (S (S (S (S
-    (S (S (S (S O)))))))))))) :: ((SAlpha ((String ((Ascii (true, false,
-    true, true, false, false, true, false)), (String ((Ascii (true, false,
-    true, false, false, true, true, false)), (String ((Ascii (true, true,
-    false, false, true, true, true, false)), (String ((Ascii (true, true,
-    false, false, true, true, true, false)), (String ((Ascii (true, false,
-    false, false, false, true, true, false)), (String ((Ascii (true, true,
-    true, false, false, true, true, false)), (String ((Ascii (true, false,
-    true, false, false, true, true, false)), (String ((Ascii (true, false,
-    false, false, false, false, true, false)), (String ((Ascii (true, false,
-    true, false, true, true, true, false)), (String ((Ascii (false, false,
-    true, false, true, true, true, false)), (String ((Ascii (false, false,
-    false, true, false, true, true, false)), (String ((Ascii (true, false,
-    true, false, false, true, true, false)), (String ((Ascii (false, true,
-    true, true, false, true, true, false)), (String ((Ascii (false, false,
-    true, false, true, true, true, false)), (String ((Ascii (true, false,
-    false, true, false, true, true, false)), (String ((Ascii (true, true,
-    false, false, false, true, true, false)), (String ((Ascii (true, false,
-    false, false, false, true, true, false)), (String ((Ascii (false, false,
-    true, false, true, true, true, false)), (String ((Ascii (true, false,
-    false, true, false, true, true, false)), (String ((Ascii (true, true,
-    true, true, false, true, true, false)), (String ((Ascii (false, true,
-    true, true, false, true, true, false)), (String ((Ascii (true, true,
-    false, false, false, false, true, false)), (String ((Ascii (true, true,
-    true, true, false, true, true, false)), (String ((Ascii (false, false,
-    true, false, false, true, true, false)), (String ((Ascii (true, false,
-    true, false, false, true, true, false)),
-    EmptyString)))))))))))))))))))))))))))))))))))))))))))))))))), (S (S (S
-    (S (S (S (S (S (S (S (S (S (S (S (S (S (S (S (S
-    O))))))))))))))))))))) :: ((SLit ((Npos (XO (XO (XO (XO (XO
-    XH)))))) :: ((Npos (XO (XO (XO (XO (XO XH)))))) :: ((Npos (XO (XO (XO (XO
-    (XO XH)))))) :: ((Npos (XO (XO (XO (XO (XO XH)))))) :: ((Npos (XO (XO (XO
-    (XO (XO XH)))))) :: ((Npos (XO (XO (XO (XO (XO
-    XH)))))) :: []))))))) :: ((SStr ((String ((Ascii (true, true, true, true,
-    false, false, true, false)), (String ((Ascii (false, false, true, false,
-    false, false, true, false)), (String ((Ascii (false, true, true, false,
-    false, false, true, false)), (String ((Ascii (true, false, false, true,
-    false, false, true, false)), (String ((Ascii (true, false, false, true,
-    false, false, true, false)), (String ((Ascii (false, false, true, false,
-    false, true, true, false)), (String ((Ascii (true, false, true, false,
-    false, true, true, false)), (String ((Ascii (false, true, true, true,
-    false, true, true, false)), (String ((Ascii (false, false, true, false,
-    true, true, true, false)), (String ((Ascii (true, false, false, true,
-    false, true, true, false)), (String ((Ascii (false, true, true, false,
-    false, true, true, false)), (String ((Ascii (true, false, false, true,
-    false, true, true, false)), (String ((Ascii (true, true, false, false,
-    false, true, true, false)), (String ((Ascii (true, false, false, false,
-    false, true, true, false)), (String ((Ascii (false, false, true, false,
-    true, true, true, false)), (String ((Ascii (true, false, false, true,
-    false, true, true, false)), (String ((Ascii (true, true, true, true,
-    false, true, true, false)), (String ((Ascii (false, true, true, true,
-    false, true, true, false)),
-    EmptyString)))))))))))))))))))))))))))))))))))), (S (S (S (S (S (S (S (S
-    O)))))))))) :: ((SNum ((String ((Ascii (false, true, false, false, false,
-    false, true, false)), (String ((Ascii (true, false, false, false, false,
-    true, true, false)), (String ((Ascii (false, false, true, false, true,
-    true, true, false)), (String ((Ascii (true, true, false, false, false,
-    true, true, false)), (String ((Ascii (false, false, false, true, false,
-    true, true, false)), (String ((Ascii (false, true, true, true, false,
-    false, true, false)), (String ((Ascii (true, false, true, false, true,
-    true, true, false)), (String ((Ascii (true, false, true, true, false,
-    true, true, false)), (String ((Ascii (false, true, false, false, false,
-    true, true, false)), (String ((Ascii (true, false, true, false, false,
-    true, true, false)), (String ((Ascii (false, true, false, false, true,
-    true, true, false)), EmptyString)))))))))))))))))))))), (S (S (S (S (S (S
-    (S O))))))))) :: []))))))))))); l_cuts =
-    ((mkcut (S O) (S (S (S (S O)))) (String ((Ascii (true, true, false,
-       false, true, false, true, false)), (String ((Ascii (true, false, true,
-       false, false, true, true, false)), (String ((Ascii (false, true,
-       false, false, true, true, true, false)), (String ((Ascii (false, true,
-       true, false, true, true, true, false)), (String ((Ascii (true, false,
-       false, true, false, true, true, false)), (String ((Ascii (true, true,
-       false, false, false, true, true, false)), (String ((Ascii (true,
-       false, true, false, false, true, true, false)), (String ((Ascii (true,
-       true, false, false, false, false, true, false)), (String ((Ascii
-       (false, false, true, true, false, true, true, false)), (String ((Ascii
-       (true, false, false, false, false, true, true, false)), (String
-       ((Ascii (true, true, false, false, true, true, true, false)), (String
-       ((Ascii (true, true, false, false, true, true, true, false)), (String
-       ((Ascii (true, true, false, false, false, false, true, false)),
-       (String ((Ascii (true, true, true, true, false, true, true, false)),
-       (String ((Ascii (false, false, true, false, false, true, true,
-       false)), (String ((Ascii (true, false, true, false, false, true, true,
-       false)), EmptyString)))))))))))))))))))))))))))))))) ((String ((Ascii
-       (false, false, false, false, true, true, true, false)), (String
-       ((Ascii (true, false, false, false, false, true, true, false)),
-       (String ((Ascii (false, true, false, false, true, true, true, false)),
-       (String ((Ascii (true, true, false, false, true, true, true, false)),
-       (String ((Ascii (true, false, true, false, false, true, true, false)),
-       (String ((Ascii (false, true, true, true, false, false, true, false)),
-       (String ((Ascii (true, false, true, false, true, true, true, false)),
-       (String ((Ascii (true, false, true, true, false, true, true, false)),
-       (String ((Ascii (false, true, true, false, false, false, true,
-       false)), (String ((Ascii (true, false, false, true, false, true, true,
-       false)), (String ((Ascii (true, false, true, false, false, true, true,
-       false)), (String ((Ascii (false, false, true, true, false, true, true,
-       false)), (String ((Ascii (false, false, true, false, false, true,
-       true, false)), EmptyString)))))))))))))))))))))))))) :: [])) :: (
-    (mkcut (S (S (S (S O)))) (S (S (S (S (S (S (S (S (S (S O))))))))))
-      (String ((Ascii (true, false, true, false, false, false, true, false)),
-      (String ((Ascii (false, true, true, true, false, true, true, false)),
-      (String ((Ascii (false, false, true, false, true, true, true, false)),
-      (String ((Ascii (false, true, false, false, true, true, true, false)),
-      (String ((Ascii (true, false, false, true, true, true, true, false)),
-      (String ((Ascii (true, false, false, false, false, false, true,
-      false)), (String ((Ascii (false, false, true, false, false, true, true,
-      false)), (String ((Ascii (false, false, true, false, false, true, true,
-      false)), (String ((Ascii (true, false, true, false, false, true, true,
-      false)), (String ((Ascii (false, true, true, true, false, true, true,
-      false)), (String ((Ascii (false, false, true, false, false, true, true,
-      false)), (String ((Ascii (true, false, false, false, false, true, true,
-      false)), (String ((Ascii (true, true, false, false, false, false, true,
-      false)), (String ((Ascii (true, true, true, true, false, true, true,
-      false)), (String ((Ascii (true, false, true, false, true, true, true,
-      false)), (String ((Ascii (false, true, true, true, false, true, true,
-      false)), (String ((Ascii (false, false, true, false, true, true, true,
-      false)), EmptyString)))))))))))))))))))))))))))))))))) ((String ((Ascii
-      (false, false, false, false, true, true, true, false)), (String ((Ascii
-      (true, false, false, false, false, true, true, false)), (String ((Ascii
-      (false, true, false, false, true, true, true, false)), (String ((Ascii
-      (true, true, false, false, true, true, true, false)), (String ((Ascii
-      (true, false, true, false, false, true, true, false)), (String ((Ascii
-      (false, true, true, true, false, false, true, false)), (String ((Ascii
-      (true, false, true, false, true, true, true, false)), (String ((Ascii
-      (true, false, true, true, false, true, true, false)), (String ((Ascii
-      (false, true, true, false, false, false, true, false)), (String ((Ascii
-      (true, false, false, true, false, true, true, false)), (String ((Ascii
-      (true, false, true, false, false, true, true, false)), (String ((Ascii
-      (false, false, true, true, false, true, true, false)), (String ((Ascii
-      (false, false, true, false, false, true, true, false)),
-      EmptyString)))))))))))))))))))))))))) :: [])) :: ((mkcut (S (S (S (S (S
-                                                          (S (S (S (S (S
-                                                          O)))))))))) (S (S
-                                                          (S (S (S (S (S (S
-                                                          (S (S (S (S (S (S
-                                                          (S (S (S (S (S (S
-                                                          O))))))))))))))))))))
-                                                          (String ((Ascii
-                                                          (true, false, true,
-                                                          false, false,
-                                                          false, true,
-                                                          false)), (String
-                                                          ((Ascii (false,
-                                                          true, true, true,
-                                                          false, true, true,
-                                                          false)), (String
-                                                          ((Ascii (false,
-                                                          false, true, false,
-                                                          true, true, true,
-                                                          false)), (String
-                                                          ((Ascii (false,
-                                                          true, false, false,
-                                                          true, true, true,
-                                                          false)), (String
-                                                          ((Ascii (true,
-                                                          false, false, true,
-                                                          true, true, true,
-                                                          false)), (String
-                                                          ((Ascii (false,
-                                                          false, false, true,
-                                                          false, false, true,
-                                                          false)), (String
-                                                          ((Ascii (true,
-                                                          false, false,
-                                                          false, false, true,
-                                                          true, false)),
-                                                          (String ((Ascii
-                                                          (true, true, false,
-                                                          false, true, true,
-                                                          true, false)),
-                                                          (String ((Ascii
-                                                          (false, false,
-                                                          false, true, false,
-                                                          true, true,
-                                                          false)),
-                                                          EmptyString))))))))))))))))))
-                                                          ((String ((Ascii
-                                                          (false, false,
-                                                          false, false, true,
-                                                          true, true,
-                                                          false)), (String
-                                                          ((Ascii (true,
-                                                          false, false,
-                                                          false, false, true,
-                                                          true, false)),
-                                                          (String ((Ascii
-                                                          (false, true,
-                                                          false, false, true,
-                                                          true, true,
-                                                          false)), (String
-                                                          ((Ascii (true,
-                                                          true, false, false,
-                                                          true, true, true,
-                                                          false)), (String
-                                                          ((Ascii (true,
-                                                          false, true, false,
-                                                          false, true, true,
-                                                          false)), (String
-                                                          ((Ascii (false,
-                                                          true, true, true,
-                                                          false, false, true,
-                                                          false)), (String
-                                                          ((Ascii (true,
-                                                          false, true, false,
-                                                          true, true, true,
-                                                          false)), (String
-                                                          ((Ascii (true,
-                                                          false, true, true,
-                                                          false, true, true,
-                                                          false)), (String
-                                                          ((Ascii (false,
-                                                          true, true, false,
-                                                          false, false, true,
-                                                          false)), (String
-                                                          ((Ascii (true,
-                                                          false, false, true,
-                                                          false, true, true,
-                                                          false)), (String
-                                                          ((Ascii (true,
-                                                          false, true, false,
-                                                          false, true, true,
-                                                          false)), (String
-                                                          ((Ascii (false,
-                                                          false, true, true,
-                                                          false, true, true,
-                                                          false)), (String
-                                                          ((Ascii (false,
-                                                          false, true, false,
-                                                          false, true, true,
-                                                          false)),
-                                                          EmptyString)))))))))))))))))))))))))) :: [])) :: (
-    (mkcut (S (S (S (S (S (S (S (S (S (S (S (S (S (S (S (S (S (S (S (S
-      O)))))))))))))))))))) (S (S (S (S (S (S (S (S (S (S (S (S (S (S (S (S
-      (S (S (S (S (S (S (S (S (S (S (S (S (S (S (S (S
-      O)))))))))))))))))))))))))))))))) (String ((Ascii (false, false, true,
-      false, true, false, true, false)), (String ((Ascii (true, true, true,
-      true, false, true, true, false)), (String ((Ascii (false, false, true,
-      false, true, true, true, false)), (String ((Ascii (true, false, false,
-      false, false, true, true, false)), (String ((Ascii (false, false, true,
-      true, false, true, true, false)), (String ((Ascii (false, false, true,
-      false, false, false, true, false)), (String ((Ascii (true, false, true,
-      false, false, true, true, false)), (String ((Ascii (false, true, false,
-      false, false, true, true, false)), (String ((Ascii (true, false, false,
-      true, false, true, true, false)), (String ((Ascii (false, false, true,
-      false, true, true, true, false)), (String ((Ascii (true, false, true,
-      false, false, false, true, false)), (String ((Ascii (false, true, true,
-      true, false, true, true, false)), (String ((Ascii (false, false, true,
-      false, true, true, true, false)), (String ((Ascii (false, true, false,
-      false, true, true, true, false)), (String ((Ascii (true, false, false,
-      true, true, true, true, false)), (String ((Ascii (false, false, true,
-      false, false, false, true, false)), (String ((Ascii (true, true, true,
-      true, false, true, true, false)), (String ((Ascii (false, false, true,
-      true, false, true, true, false)), (String ((Ascii (false, false, true,
-      true, false, true, true, false)), (String ((Ascii (true, false, false,
-      false, false, true, true, false)), (String ((Ascii (false, true, false,
-      false, true, true, true, false)), (String ((Ascii (true, false, false,
-      false, false, false, true, false)), (String ((Ascii (true, false, true,
-      true, false, true, true, false)), (String ((Ascii (true, true, true,
-      true, false, true, true, false)), (String ((Ascii (true, false, true,
-      false, true, true, true, false)), (String ((Ascii (false, true, true,
-      true, false, true, true, false)), (String ((Ascii (false, false, true,
-      false, true, true, true, false)),
-      EmptyString))))))))))))))))))))))))))))))))))))))))))))))))))))))
-      ((String ((Ascii (false, false, false, false, true, true, true,
-      false)), (String ((Ascii (true, false, false, false, false, true, true,
-      false)), (String ((Ascii (false, true, false, false, true, true, true,
-      false)), (String ((Ascii (true, true, false, false, true, true, true,
-      false)), (String ((Ascii (true, false, true, false, false, true, true,
-      false)), (String ((Ascii (false, true, true, true, false, false, true,
-      false)), (String ((Ascii (true, false, true, false, true, true, true,
-      false)), (String ((Ascii (true, false, true, true, false, true, true,
-      false)), (String ((Ascii (false, true, true, false, false, false, true,
-      false)), (String ((Ascii (true, false, false, true, false, true, true,
-      false)), (String ((Ascii (true, false, true, false, false, true, true,
-      false)), (String ((Ascii (false, false, true, true, false, true, true,
-      false)), (String ((Ascii (false, false, true, false, false, true, true,
-      false)), EmptyString)))))))))))))))))))))))))) :: [])) :: ((mkcut (S (S
-                                                                   (S (S (S
-                                                                   (S (S (S
-                                                                   (S (S (S
-                                                                   (S (S (S
-                                                                   (S (S (S
-                                                                   (S (S (S
-                                                                   (S (S (S
-                                                                   (S (S (S
-                                                                   (S (S (S
-                                                                   (S (S (S
-                                                                   O))))))))))))))))))))))))))))))))
-                                                                   (S (S (S
-                                                                   (S (S (S
-                                                                   (S (S (S
-                                                                   (S (S (S
-                                                                   (S (S (S
-                                                                   (S (S (S
-                                                                   (S (S (S
-                                                                   (S (S (S
-                                                                   (S (S (S
-                                                                   (S (S (S
-                                                                   (S (S (S
-                                                                   (S (S (S
-                                                                   (S (S (S
-                                                                   (S (S (S
-                                                                   (S (S
-                                                                   O))))))))))))))))))))))))))))))))))))))))))))
-                                                                   (String
-                                                                   ((Ascii
-                                                                   (false,
-                                                                   false,
-                                                                   true,
-                                                                   false,
-                                                                   true,
-                                                                   false,
-                                                                   true,
-                                                                   false)),
-                                                                   (String
-                                                                   ((Ascii
-                                                                   (true,
-                                                                   true,
-                                                                   true,
-                                                                   true,
-                                                                   false,
-                                                                   true,
-                                                                   true,
-                                                                   false)),
-                                                                   (String
-                                                                   ((Ascii
-                                                                   (false,
-                                                                   false,
-                                                                   true,
-                                                                   false,
-                                                                   true,
-                                                                   true,
-                                                                   true,
-                                                                   false)),
-                                                                   (String
-                                                                   ((Ascii
-                                                                   (true,
-                                                                   false,
-                                                                   false,
-                                                                   false,
-                                                                   false,
-                                                                   true,
-                                                                   true,
-                                                                   false)),
-                                                                   (String
-                                                                   ((Ascii
-                                                                   (false,
-                                                                   false,
-                                                                   true,
-                                                                   true,
-                                                                   false,
-                                                                   true,
-                                                                   true,
-                                                                   false)),
-                                                                   (String
-                                                                   ((Ascii
-                                                                   (true,
-                                                                   true,
-                                                                   false,
-                                                                   false,
-                                                                   false,
-                                                                   false,
-                                                                   true,
-                                                                   false)),
-                                                                   (String
-                                                                   ((Ascii
-                                                                   (false,
-                                                                   true,
-                                                                   false,
-                                                                   false,
-                                                                   true,
-                                                                   true,
-                                                                   true,
-                                                                   false)),
-                                                                   (String
-                                                                   ((Ascii
-                                                                   (true,
-                                                                   false,
-                                                                   true,
-                                                                   false,
-                                                                   false,
-                                                                   true,
-                                                                   true,
-                                                                   false)),
-                                                                   (String
-                                                                   ((Ascii
-                                                                   (false,
-                                                                   false,
-                                                                   true,
-                                                                   false,
-                                                                   false,
-                                                                   true,
-                                                                   true,
-                                                                   false)),
-                                                                   (String
-                                                                   ((Ascii
-                                                                   (true,
-                                                                   false,
-                                                                   false,
-                                                                   true,
-                                                                   false,
-                                                                   true,
-                                                                   true,
-                                                                   false)),
-                                                                   (String
-                                                                   ((Ascii
-                                                                   (false,
-                                                                   false,
-                                                                   true,
-                                                                   false,
-                                                                   true,
-                                                                   true,
-                                                                   true,
-                                                                   false)),
-                                                                   (String
-                                                                   ((Ascii
-                                                                   (true,
-                                                                   false,
-                                                                   true,
-                                                                   false,
-                                                                   false,
-                                                                   false,
-                                                                   true,
-                                                                   false)),
-                                                                   (String
-                                                                   ((Ascii
-                                                                   (false,
-                                                                   true,
-                                                                   true,
-                                                                   true,
-                                                                   false,
-                                                                   true,
-                                                                   true,
-                                                                   false)),
-                                                                   (String
-                                                                   ((Ascii
-                                                                   (false,
-                                                                   false,
-                                                                   true,
-                                                                   false,
-                                                                   true,
-                                                                   true,
-                                                                   true,
-                                                                   false)),
-                                                                   (String
-                                                                   ((Ascii
-                                                                   (false,
-                                                                   true,
-                                                                   false,
-                                                                   false,
-                                                                   true,
-                                                                   true,
-                                                                   true,
-                                                                   false)),
-                                                                   (String
-                                                                   ((Ascii
-                                                                   (true,
-                                                                   false,
-                                                                   false,
-                                                                   true,
-                                                                   true,
-                                                                   true,
-                                                                   true,
-                                                                   false)),
-                                                                   (String
-                                                                   ((Ascii
-                                                                   (false,
-                                                                   false,
-                                                                   true,
-                                                                   false,
-                                                                   false,
-                                                                   false,
-                                                                   true,
-                                                                   false)),
-                                                                   (String
-                                                                   ((Ascii
-                                                                   (true,
-                                                                   true,
-                                                                   true,
-                                                                   true,
-                                                                   false,
-                                                                   true,
-                                                                   true,
-                                                                   false)),
-                                                                   (String
-                                                                   ((Ascii
-                                                                   (false,
-                                                                   false,
-                                                                   true,
-                                                                   true,
-                                                                   false,
-                                                                   true,
-                                                                   true,
-                                                                   false)),
-                                                                   (String
-                                                                   ((Ascii
-                                                                   (false,
-                                                                   false,
-                                                                   true,
-                                                                   true,
-                                                                   false,
-                                                                   true,
-                                                                   true,
-                                                                   false)),
-                                                                   (String
-                                                                   ((Ascii
-                                                                   (true,
-                                                                   false,
-                                                                   false,
-                                                                   false,
-                                                                   false,
-                                                                   true,
-                                                                   true,
-                                                                   false)),
-                                                                   (String
-                                                                   ((Ascii
-                                                                   (false,
-                                                                   true,
-                                                                   false,
-                                                                   false,
-                                                                   true,
-                                                                   true,
-                                                                   true,
-                                                                   false)),
-                                                                   (String
-                                                                   ((Ascii
-                                                                   (true,
-                                                                   false,
-                                                                   false,
-                                                                   false,
-                                                                   false,
-                                                                   false,
-                                                                   true,
-                                                                   false)),
-                                                                   (String
-                                                                   ((Ascii
-                                                                   (true,
-                                                                   false,
-                                                                   true,
-                                                                   true,
-                                                                   false,
-                                                                   true,
-                                                                   true,
-                                                                   false)),
-                                                                   (String
-                                                                   ((Ascii
-                                                                   (true,
-                                                                   true,
-                                                                   true,
-                                                                   true,
-                                                                   false,
-                                                                   true,
-                                                                   true,
-                                                                   false)),
-                                                                   (String
-                                                                   ((Ascii
-                                                                   (true,
-                                                                   false,
-                                                                   true,
-                                                                   false,
-                                                                   true,
-                                                                   true,
-                                                                   true,
-                                                                   false)),
-                                                                   (String
-                                                                   ((Ascii
-                                                                   (false,
-                                                                   true,
-                                                                   true,
-                                                                   true,
-                                                                   false,
-                                                                   true,
-                                                                   true,
-                                                                   false)),
-                                                                   (String
-                                                                   ((Ascii
-                                                                   (false,
-                                                                   false,
-                                                                   true,
-                                                                   false,
-                                                                   true,
-                                                                   true,
-                                                                   true,
-                                                                   false)),
-                                                                   EmptyString))))))))))))))))))))))))))))))))))))))))))))))))))))))))
-                                                                   ((String
-                                                                   ((Ascii
-                                                                   (false,
-                                                                   false,
-                                                                   false,
-                                                                   false,
-                                                                   true,
-                                                                   true,
-                                                                   true,
-                                                                   false)),
-                                                                   (String
-                                                                   ((Ascii
-                                                                   (true,
-                                                                   false,
-                                                                   false,
-                                                                   false,
-                                                                   false,
-                                                                   true,
-                                                                   true,
-                                                                   false)),
-                                                                   (String
-                                                                   ((Ascii
-                                                                   (false,
-                                                                   true,
-                                                                   false,
-                                                                   false,
-                                                                   true,
-                                                                   true,
-                                                                   true,
-                                                                   false)),
-                                                                   (String
-                                                                   ((Ascii
-                                                                   (true,
-                                                                   true,
-                                                                   false,
-                                                                   false,
-                                                                   true,
-                                                                   true,
-                                                                   true,
-                                                                   false)),
-                                                                   (String
-                                                                   ((Ascii
-                                                                   (true,
-                                                                   false,
-                                                                   true,
-                                                                   false,
-                                                                   false,
-                                                                   true,
-                                                                   true,
-                                                                   false)),
-                                                                   (String
-                                                                   ((Ascii
-                                                                   (false,
-                                                                   true,
-                                                                   true,
-                                                                   true,
-                                                                   false,
-                                                                   false,
-                                                                   true,
-                                                                   false)),
-                                                                   (String
-                                                                   ((Ascii
-                                                                   (true,
-                                                                   false,
-                                                                   true,
-                                                                   false,
-                                                                   true,
-                                                                   true,
-                                                                   true,
-                                                                   false)),
-                                                                   (String
-                                                                   ((Ascii
-                                                                   (true,
-                                                                   false,
-                                                                   true,
-                                                                   true,
-                                                                   false,
-                                                                   true,
-                                                                   true,
-                                                                   false)),
-                                                                   (String
-                                                                   ((Ascii
-                                                                   (false,
-                                                                   true,
-                                                                   true,
-                                                                   false,
-                                                                   false,
-                                                                   false,
-                                                                   true,
-                                                                   false)),
-                                                                   (String
-                                                                   ((Ascii
-                                                                   (true,
-                                                                   false,
-                                                                   false,
-                                                                   true,
-                                                                   false,
-                                                                   true,
-                                                                   true,
-                                                                   false)),
-                                                                   (String
-                                                                   ((Ascii
-                                                                   (true,
-                                                                   false,
-                                                                   true,
-                                                                   false,
-                                                                   false,
-                                                                   true,
-                                                                   true,
-                                                                   false)),
-                                                                   (String
-                                                                   ((Ascii
-                                                                   (false,
-                                                                   false,
-                                                                   true,
-                                                                   true,
-                                                                   false,
-                                                                   true,
-                                                                   true,
-                                                                   false)),
-                                                                   (String
-                                                                   ((Ascii
-                                                                   (false,
-                                                                   false,
-                                                                   true,
-                                                                   false,
-                                                                   false,
-                                                                   true,
-                                                                   true,
-                                                                   false)),
-                                                                   EmptyString)))))))))))))))))))))))))) :: [])) :: (
-    (mkcut (S (S (S (S (S (S (S (S (S (S (S (S (S (S (S (S (S (S (S (S (S (S
-      (S (S (S (S (S (S (S (S (S (S (S (S (S (S (S (S (S (S (S (S (S (S
-      O)))))))))))))))))))))))))))))))))))))))))))) (S (S (S (S (S (S (S (S
-      (S (S (S (S (S (S (S (S (S (S (S (S (S (S (S (S (S (S (S (S (S (S (S (S
-      (S (S (S (S (S (S (S (S (S (S (S (S (S (S (S (S (S (S (S (S (S (S
-      O)))))))))))))))))))))))))))))))))))))))))))))))))))))) (String ((Ascii
-      (true, true, false, false, false, false, true, false)), (String ((Ascii
-      (true, true, true, true, false, true, true, false)), (String ((Ascii
-      (true, false, true, true, false, true, true, false)), (String ((Ascii
-      (false, false, false, false, true, true, true, false)), (String ((Ascii
-      (true, false, false, false, false, true, true, false)), (String ((Ascii
-      (false, true, true, true, false, true, true, false)), (String ((Ascii
-      (true, false, false, true, true, true, true, false)), (String ((Ascii
-      (true, false, false, true, false, false, true, false)), (String ((Ascii
-      (false, false, true, false, false, true, true, false)), (String ((Ascii
-      (true, false, true, false, false, true, true, false)), (String ((Ascii
-      (false, true, true, true, false, true, true, false)), (String ((Ascii
-      (false, false, true, false, true, true, true, false)), (String ((Ascii
-      (true, false, false, true, false, true, true, false)), (String ((Ascii
-      (false, true, true, false, false, true, true, false)), (String ((Ascii
-      (true, false, false, true, false, true, true, false)), (String ((Ascii
-      (true, true, false, false, false, true, true, false)), (String ((Ascii
-      (true, false, false, false, false, true, true, false)), (String ((Ascii
-      (false, false, true, false, true, true, true, false)), (String ((Ascii
-      (true, false, false, true, false, true, true, false)), (String ((Ascii
-      (true, true, true, true, false, true, true, false)), (String ((Ascii
-      (false, true, true, true, false, true, true, false)),
-      EmptyString)))))))))))))))))))))))))))))))))))))))))) ((String ((Ascii
-      (false, false, false, false, true, true, true, false)), (String ((Ascii
-      (true, false, false, false, false, true, true, false)), (String ((Ascii
-      (false, true, false, false, true, true, true, false)), (String ((Ascii
-      (true, true, false, false, true, true, true, false)), (String ((Ascii
-      (true, false, true, false, false, true, true, false)), (String ((Ascii
-      (true, true, false, false, true, false, true, false)), (String ((Ascii
-      (false, false, true, false, true, true, true, false)), (String ((Ascii
-      (false, true, false, false, true, true, true, false)), (String ((Ascii
-      (true, false, false, true, false, true, true, false)), (String ((Ascii
-      (false, true, true, true, false, true, true, false)), (String ((Ascii
-      (true, true, true, false, false, true, true, false)), (String ((Ascii
-      (false, true, true, false, false, false, true, false)), (String ((Ascii
-      (true, false, false, true, false, true, true, false)), (String ((Ascii
-      (true, false, true, false, false, true, true, false)), (String ((Ascii
-      (false, false, true, true, false, true, true, false)), (String ((Ascii
-      (false, false, true, false, false, true, true, false)), (String ((Ascii
-      (true, true, true, false, true, false, true, false)), (String ((Ascii
-      (true, false, false, true, false, true, true, false)), (String ((Ascii
-      (false, false, true, false, true, true, true, false)), (String ((Ascii
-      (false, false, false, true, false, true, true, false)), (String ((Ascii
-      (true, true, true, true, false, false, true, false)), (String ((Ascii
-      (false, false, false, false, true, true, true, false)), (String ((Ascii
-      (false, false, true, false, true, true, true, false)), (String ((Ascii
-      (true, true, false, false, true, true, true, false)),
-      EmptyString)))))))))))))))))))))))))))))))))))))))))))))))) :: [])) :: (
-    (mkcut (S (S (S (S (S (S (S (S (S (S (S (S (S (S (S (S (S (S (S (S (S (S
-      (S (S (S (S (S (S (S (S (S (S (S (S (S (S (S (S (S (S (S (S (S (S (S (S
-      (S (S (S (S (S (S (S (S
-      O)))))))))))))))))))))))))))))))))))))))))))))))))))))) (S (S (S (S (S
-      (S (S (S (S (S (S (S (S (S (S (S (S (S (S (S (S (S (S (S (S (S (S (S (S
-      (S (S (S (S (S (S (S (S (S (S (S (S (S (S (S (S (S (S (S (S (S (S (S (S
-      (S (S (S (S (S (S (S (S (S (S (S (S (S (S (S (S (S (S (S (S
-      O)))))))))))))))))))))))))))))))))))))))))))))))))))))))))))))))))))))))))
-      (String ((Ascii (true, false, true, true, false, false, true, false)),
-      (String ((Ascii (true, false, true, false, false, true, true, false)),
-      (String ((Ascii (true, true, false, false, true, true, true, false)),
-      (String ((Ascii (true, true, false, false, true, true, true, false)),
-      (String ((Ascii (true, false, false, false, false, true, true, false)),
-      (String ((Ascii (true, true, true, false, false, true, true, false)),
-      (String ((Ascii (true, false, true, false, false, true, true, false)),
-      (String ((Ascii (true, false, false, false, false, false, true,
-      false)), (String ((Ascii (true, false, true, false, true, true, true,
-      false)), (String ((Ascii (false, false, true, false, true, true, true,
-      false)), (String ((Ascii (false, false, false, true, false, true, true,
-      false)), (String ((Ascii (true, false, true, false, false, true, true,
-      false)), (String ((Ascii (false, true, true, true, false, true, true,
-      false)), (String ((Ascii (false, false, true, false, true, true, true,
-      false)), (String ((Ascii (true, false, false, true, false, true, true,
-      false)), (String ((Ascii (true, true, false, false, false, true, true,
-      false)), (String ((Ascii (true, false, false, false, false, true, true,
-      false)), (String ((Ascii (false, false, true, false, true, true, true,
-      false)), (String ((Ascii (true, false, false, true, false, true, true,
-      false)), (String ((Ascii (true, true, true, true, false, true, true,
-      false)), (String ((Ascii (false, true, true, true, false, true, true,
-      false)), (String ((Ascii (true, true, false, false, false, false, true,
-      false)), (String ((Ascii (true, true, true, true, false, true, true,
-      false)), (String ((Ascii (false, false, true, false, false, true, true,
-      false)), (String ((Ascii (true, false, true, false, false, true, true,
-      false)), EmptyString))))))))))))))))))))))))))))))))))))))))))))))))))
-      ((String ((Ascii (false, false, false, false, true, true, true,
-      false)), (String ((Ascii (true, false, false, false, false, true, true,
-      false)), (String ((Ascii (false, true, false, false, true, true, true,
-      false)), (String ((Ascii (true, true, false, false, true, true, true,
-      false)), (String ((Ascii (true, false, true, false, false, true, true,
-      false)), (String ((Ascii (true, true, false, false, true, false, true,
-      false)), (String ((Ascii (false, false, true, false, true, true, true,
-      false)), (String ((Ascii (false, true, false, false, true, true, true,
-      false)), (String ((Ascii (true, false, false, true, false, true, true,
-      false)), (String ((Ascii (false, true, true, true, false, true, true,
-      false)), (String ((Ascii (true, true, true, false, false, true, true,
-      false)), (String ((Ascii (false, true, true, false, false, false, true,
-      false)), (String ((Ascii (true, false, false, true, false, true, true,
-      false)), (String ((Ascii (true, false, true, false, false, true, true,
-      false)), (String ((Ascii (false, false, true, true, false, true, true,
-      false)), (String ((Ascii (false, false, true, false, false, true, true,
-      false)), (String ((Ascii (true, true, true, false, true, false, true,
-      false)), (String ((Ascii (true, false, false, true, false, true, true,
-      false)), (String ((Ascii (false, false, true, false, true, true, true,
-      false)), (String ((Ascii (false, false, false, true, false, true, true,
-      false)), (String ((Ascii (true, true, true, true, false, false, true,
-      false)), (String ((Ascii (false, false, false, false, true, true, true,
-      false)), (String ((Ascii (false, false, true, false, true, true, true,
-      false)), (String ((Ascii (true, true, false, false, true, true, true,
-      false)),
-      EmptyString)))))))))))))))))))))))))))))))))))))))))))))))) :: [])) :: (
-    (mkcut (S (S (S (S (S (S (S (S (S (S (S (S (S (S (S (S (S (S (S (S (S (S
-      (S (S (S (S (S (S (S (S (S (S (S (S (S (S (S (S (S (S (S (S (S (S (S (S
-      (S (S (S (S (S (S (S (S (S (S (S (S (S (S (S (S (S (S (S (S (S (S (S (S
-      (S (S (S (S (S (S (S (S (S
-      O)))))))))))))))))))))))))))))))))))))))))))))))))))))))))))))))))))))))))))))))
-      (S (S (S (S (S (S (S (S (S (S (S (S (S (S (S (S (S (S (S (S (S (S (S (S
-      (S (S (S (S (S (S (S (S (S (S (S (S (S (S (S (S (S (S (S (S (S (S (S (S
-      (S (S (S (S (S (S (S (S (S (S (S (S (S (S (S (S (S (S (S (S (S (S (S (S
-      (S (S (S (S (S (S (S (S (S (S (S (S (S (S (S
-      O)))))))))))))))))))))))))))))))))))))))))))))))))))))))))))))))))))))))))))))))))))))))
-      (String ((Ascii (true, true, true, true, false, false, true, false)),
-      (String ((Ascii (false, false, true, false, false, false, true,
-      false)), (String ((Ascii (false, true, true, false, false, false, true,
-      false)), (String ((Ascii (true, false, false, true, false, false, true,
-      false)), (String ((Ascii (true, false, false, true, false, false, true,
-      false)), (String ((Ascii (false, false, true, false, false, true, true,
-      false)), (String ((Ascii (true, false, true, false, false, true, true,
-      false)), (String ((Ascii (false, true, true, true, false, true, true,
-      false)), (String ((Ascii (false, false, true, false, true, true, true,
-      false)), (String ((Ascii (true, false, false, true, false, true, true,
-      false)), (String ((Ascii (false, true, true, false, false, true, true,
-      false)), (String ((Ascii (true, false, false, true, false, true, true,
-      false)), (String ((Ascii (true, true, false, false, false, true, true,
-      false)), (String ((Ascii (true, false, false, false, false, true, true,
-      false)), (String ((Ascii (false, false, true, false, true, true, true,
-      false)), (String ((Ascii (true, false, false, true, false, true, true,
-      false)), (String ((Ascii (true, true, true, true, false, true, true,
-      false)), (String ((Ascii (false, true, true, true, false, true, true,
-      false)), EmptyString)))))))))))))))))))))))))))))))))))) ((String
-      ((Ascii (false, false, false, false, true, true, true, false)), (String
-      ((Ascii (true, false, false, false, false, true, true, false)), (String
-      ((Ascii (false, true, false, false, true, true, true, false)), (String
-      ((Ascii (true, true, false, false, true, true, true, false)), (String
-      ((Ascii (true, false, true, false, false, true, true, false)), (String
-      ((Ascii (true, true, false, false, true, false, true, false)), (String
-      ((Ascii (false, false, true, false, true, true, true, false)), (String
-      ((Ascii (false, true, false, false, true, true, true, false)), (String
-      ((Ascii (true, false, false, true, false, true, true, false)), (String
-      ((Ascii (false, true, true, true, false, true, true, false)), (String
-      ((Ascii (true, true, true, false, false, true, true, false)), (String
-      ((Ascii (false, true, true, false, false, false, true, false)), (String
-      ((Ascii (true, false, false, true, false, true, true, false)), (String
-      ((Ascii (true, false, true, false, false, true, true, false)), (String
-      ((Ascii (false, false, true, true, false, true, true, false)), (String
-      ((Ascii (false, false, true, false, false, true, true, false)), (String
-      ((Ascii (true, true, true, false, true, false, true, false)), (String
-      ((Ascii (true, false, false, true, false, true, true, false)), (String
-      ((Ascii (false, false, true, false, true, true, true, false)), (String
-      ((Ascii (false, false, false, true, false, true, true, false)), (String
-      ((Ascii (true, true, true, true, false, false, true, false)), (String
-      ((Ascii (false, false, false, false, true, true, true, false)), (String
-      ((Ascii (false, false, true, false, true, true, true, false)), (String
-      ((Ascii (true, true, false, false, true, true, true, false)),
-      EmptyString)))))))))))))))))))))))))))))))))))))))))))))))) :: [])) :: (
-    (mkcut (S (S (S (S (S (S (S (S (S (S (S (S (S (S (S (S (S (S (S (S (S (S
-      (S (S (S (S (S (S (S (S (S (S (S (S (S (S (S (S (S (S (S (S (S (S (S (S
-      (S (S (S (S (S (S (S (S (S (S (S (S (S (S (S (S (S (S (S (S (S (S (S (S
-      (S (S (S (S (S (S (S (S (S (S (S (S (S (S (S (S (S
-      O)))))))))))))))))))))))))))))))))))))))))))))))))))))))))))))))))))))))))))))))))))))))
-      (S (S (S (S (S (S (S (S (S (S (S (S (S (S (S (S (S (S (S (S (S (S (S (S
-      (S (S (S (S (S (S (S (S (S (S (S (S (S (S (S (S (S (S (S (S (S (S (S (S
-      (S (S (S (S (S (S (S (S (S (S (S (S (S (S (S (S (S (S (S (S (S (S (S (S
-      (S (S (S (S (S (S (S (S (S (S (S (S (S (S (S (S (S (S (S (S (S (S
-      O))))))))))))))))))))))))))))))))))))))))))))))))))))))))))))))))))))))))))))))))))))))))))))))
-      (String ((Ascii (false, true, false, false, false, false, true,
-      false)), (String ((Ascii (true, false, false, false, false, true, true,
-      false)), (String ((Ascii (false, false, true, false, true, true, true,
-      false)), (String ((Ascii (true, true, false, false, false, true, true,
-      false)), (String ((Ascii (false, false, false, true, false, true, true,
-      false)), (String ((Ascii (false, true, true, true, false, false, true,
-      false)), (String ((Ascii (true, false, true, false, true, true, true,
-      false)), (String ((Ascii (true, false, true, true, false, true, true,
-      false)), (String ((Ascii (false, true, false, false, false, true, true,
-      false)), (String ((Ascii (true, false, true, false, false, true, true,
-      false)), (String ((Ascii (false, true, false, false, true, true, true,
-      false)), EmptyString)))))))))))))))))))))) ((String ((Ascii (false,
-      false, false, false, true, true, true, false)), (String ((Ascii (true,
-      false, false, false, false, true, true, false)), (String ((Ascii
-      (false, true, false, false, true, true, true, false)), (String ((Ascii
-      (true, true, false, false, true, true, true, false)), (String ((Ascii
-      (true, false, true, false, false, true, true, false)), (String ((Ascii
-      (false, true, true, true, false, false, true, false)), (String ((Ascii
-      (true, false, true, false, true, true, true, false)), (String ((Ascii
-      (true, false, true, true, false, true, true, false)), (String ((Ascii
-      (false, true, true, false, false, false, true, false)), (String ((Ascii
-      (true, false, false, true, false, true, true, false)), (String ((Ascii
-      (true, false, true, false, false, true, true, false)), (String ((Ascii
-      (false, false, true, true, false, true, true, false)), (String ((Ascii
-      (false, false, true, false, false, true, true, false)),
-      EmptyString)))))))))))))))))))))))))) :: [])) :: []))))))))) }
-
-(** val l_BatchHeader : layout **)
-
-let l_BatchHeader =
-  { l_name = (String ((Ascii (false, true, false, false, false, false, true,
-    false)), (String ((Ascii (true, false, false, false, false, true, true,
-    false)), (String ((Ascii (false, false, true, false, true, true, true,
-    false)), (String ((Ascii (true, true, false, false, false, true, true,
-    false)), (String ((Ascii (false, false, false, true, false, true, true,
-    false)), (String ((Ascii (false, false, false, true, false, false, true,
-    false)), (String ((Ascii (true, false, true, false, false, true, true,
-    false)), (String ((Ascii (true, false, false, false, false, true, true,
-    false)), (String ((Ascii (false, false, true, false, false, true, true,
-    false)), (String ((Ascii (true, false, true, false, false, true, true,
-    false)), (String ((Ascii (false, true, false, false, true, true, true,
-    false)), EmptyString)))))))))))))))))))))); l_ix = IRune; l_segs = ((SLit
-    ((Npos (XI (XO (XI (XO (XI XH)))))) :: [])) :: ((SItoa (String ((Ascii
-    (true, true, false, false, true, false, true, false)), (String ((Ascii
-    (true, false, true, false, false, true, true, false)), (String ((Ascii
-    (false, true, false, false, true, true, true, false)), (String ((Ascii
-    (false, true, true, false, true, true, true, false)), (String ((Ascii
-    (true, false, false, true, false, true, true, false)), (String ((Ascii
-    (true, true, false, false, false, true, true, false)), (String ((Ascii
-    (true, false, true, false, false, true, true, false)), (String ((Ascii
-    (true, true, false, false, false, false, true, false)), (String ((Ascii
-    (false, false, true, true, false, true, true, false)), (String ((Ascii
-    (true, false, false, false, false, true, true, false)), (String ((Ascii
-    (true, true, false, false, true, true, true, false)), (String ((Ascii
-    (true, true, false, false, true, true, true, false)), (String ((Ascii
-    (true, true, false, false, false, false, true, false)), (String ((Ascii
-    (true, true, true, true, false, true, true, false)), (String ((Ascii
-    (false, false, true, false, false, true, true, false)), (String ((Ascii
-    (true, false, true, false, false, true, true, false)),
-    EmptyString))))))))))))))))))))))))))))))))) :: ((SAlpha ((String ((Ascii
-    (true, true, false, false, false, false, true, false)), (String ((Ascii
-    (true, true, true, true, false, true, true, false)), (String ((Ascii
-    (true, false, true, true, false, true, true, false)), (String ((Ascii
-    (false, false, false, false, true, true, true, false)), (String ((Ascii
-    (true, false, false, false, false, true, true, false)), (String ((Ascii
-    (false, true, true, true, false, true, true, false)), (String ((Ascii
-    (true, false, false, true, true, true, true, false)), (String ((Ascii
-    (false, true, true, true, false, false, true, false)), (String ((Ascii
-    (true, false, false, false, false, true, true, false)), (String ((Ascii
-    (true, false, true, true, false, true, true, false)), (String ((Ascii
-    (true, false, true, false, false, true, true, false)),
-    EmptyString)))))))))))))))))))))), (S (S (S (S (S (S (S (S (S (S (S (S (S
-    (S (S (S O)))))))))))))))))) :: ((SAlpha ((String ((Ascii (true, true,
-    false, false, false, false, true, false)), (String ((Ascii (true, true,
-    true, true, false, true, true, false)), (String ((Ascii (true, false,
-    true, true, false, true, true, false)), (String ((Ascii (false, false,
-    false, false, true, true, true, false)), (String ((Ascii (true, false,
-    false, false, false, true, true, false)), (String ((Ascii (false, true,
-    true, true, false, true, true, false)), (String ((Ascii (true, false,
-    false, true, true, true, true, false)), (String ((Ascii (false, false,
-    true, false, false, false, true, false)), (String ((Ascii (true, false,
-    false, true, false, true, true, false)), (String ((Ascii (true, true,
-    false, false, true, true, true, false)), (String ((Ascii (true, true,
-    false, false, false, true, true, false)), (String ((Ascii (false, true,
-    false, false, true, true, true, false)), (String ((Ascii (true, false,
-    true, false, false, true, true, false)), (String ((Ascii (false, false,
-    true, false, true, true, true, false)), (String ((Ascii (true, false,
-    false, true, false, true, true, false)), (String ((Ascii (true, true,
-    true, true, false, true, true, false)), (String ((Ascii (false, true,
-    true, true, false, true, true, false)), (String ((Ascii (true, false,
-    false, false, false, true, true, false)), (String ((Ascii (false, true,
-    false, false, true, true, true, false)), (String ((Ascii (true, false,
-    false, true, true, true, true, false)), (String ((Ascii (false, false,
-    true, false, false, false, true, false)), (String ((Ascii (true, false,
-    false, false, false, true, true, false)), (String ((Ascii (false, false,
-    true, false, true, true, true, false)), (String ((Ascii (true, false,
-    false, false, false, true, true, false)),
-    EmptyString)))))))))))))))))))))))))))))))))))))))))))))))), (S (S (S (S
-    (S (S (S (S (S (S (S (S (S (S (S (S (S (S (S (S
-    O)))))))))))))))))))))) :: ((SAlpha ((String ((Ascii (true, true, false,
-    false, false, false, true, false)), (String ((Ascii (true, true, true,
-    true, false, true, true, false)), (String ((Ascii (true, false, true,
-    true, false, true, true, false)), (String ((Ascii (false, false, false,
-    false, true, true, true, false)), (String ((Ascii (true, false, false,
-    false, false, true, true, false)), (String ((Ascii (false, true, true,
-    true, false, true, true, false)), (String ((Ascii (true, false, false,
-    true, true, true, true, false)), (String ((Ascii (true, false, false,
-    true, false, false, true, false)), (String ((Ascii (false, false, true,
-    false, false, true, true, false)), (String ((Ascii (true, false, true,
-    false, false, true, true, false)), (String ((Ascii (false, true, true,
-    true, false, true, true, false)), (String ((Ascii (false, false, true,
-    false, true, true, true, false)), (String ((Ascii (true, false, false,
-    true, false, true, true, false)), (String ((Ascii (false, true, true,
-    false, false, true, true, false)), (String ((Ascii (true, false, false,
-    true, false, true, true, false)), (String ((Ascii (true, true, false,
-    false, false, true, true, false)), (String ((Ascii (true, false, false,
-    false, false, true, true, false)), (String ((Ascii (false, false, true,
-    false, true, true, true, false)), (String ((Ascii (true, false, false,
-    true, false, true, true, false)), (String ((Ascii (true, true, true,
-    true, false, true, true, false)), (String ((Ascii (false, true, true,
-    true, false, true, true, false)),
-    EmptyString)))))))))))))))))))))))))))))))))))))))))), (S (S (S (S (S (S
-    (S (S (S (S O)))))))))))) :: ((SRaw (String ((Ascii (true, true, false,
-    false, true, false, true, false)), (String ((Ascii (false, false, true,
-    false, true, true, true, false)), (String ((Ascii (true, false, false,
-    false, false, true, true, false)), (String ((Ascii (false, true, true,
-    true, false, true, true, false)), (String ((Ascii (false, false, true,
-    false, false, true, true, false)), (String ((Ascii (true, false, false,
-    false, false, true, true, false)), (String ((Ascii (false, true, false,
-    false, true, true, true, false)), (String ((Ascii (false, false, true,
-    false, false, true, true, false)), (String ((Ascii (true, false, true,
-    false, false, false, true, false)), (String ((Ascii (false, true, true,
-    true, false, true, true, false)), (String ((Ascii (false, false, true,
-    false, true, true, true, false)), (String ((Ascii (false, true, false,
-    false, true, true, true, false)), (String ((Ascii (true, false, false,
-    true, true, true, true, false)), (String ((Ascii (true, true, false,
-    false, false, false, true, false)), (String ((Ascii (false, false, true,
-    true, false, true, true, false)), (String ((Ascii (true, false, false,
-    false, false, true, true, false)), (String ((Ascii (true, true, false,
-    false, true, true, true, false)), (String ((Ascii (true, true, false,
-    false, true, true, true, false)), (String ((Ascii (true, true, false,
-    false, false, false, true, false)), (String ((Ascii (true, true, true,
-    true, false, true, true, false)), (String ((Ascii (false, false, true,
-    false, false, true, true, false)), (String ((Ascii (true, false, true,
-    false, false, true, true, false)),
-    EmptyString))))))))))))))))))))))))))))))))))))))))))))) :: ((SAlpha
-    ((String ((Ascii (true, true, false, false, false, false, true, false)),
-    (String ((Ascii (true, true, true, true, false, true, true, false)),
-    (String ((Ascii (true, false, true, true, false, true, true, false)),
-    (String ((Ascii (false, false, false, false, true, true, true, false)),
-    (String ((Ascii (true, false, false, false, false, true, true, false)),
-    (String ((Ascii (false, true, true, true, false, true, true, false)),
-    (String ((Ascii (true, false, false, true, true, true, true, false)),
-    (String ((Ascii (true, false, true, false, false, false, true, false)),
-    (String ((Ascii (false, true, true, true, false, true, true, false)),
-    (String ((Ascii (false, false, true, false, true, true, true, false)),
-    (String ((Ascii (false, true, false, false, true, true, true, false)),
-    (String ((Ascii (true, false, false, true, true, true, true, false)),
-    (String ((Ascii (false, false, true, false, false, false, true, false)),
-    (String ((Ascii (true, false, true, false, false, true, true, false)),
-    (String ((Ascii (true, true, false, false, true, true, true, false)),
-    (String ((Ascii (true, true, false, false, false, true, true, false)),
-    (String ((Ascii (false, true, false, false, true, true, true, false)),
-    (String ((Ascii (true, false, false, true, false, true, true, false)),
-    (String ((Ascii (false, false, false, false, true, true, true, false)),
-    (String ((Ascii (false, false, true, false, true, true, true, false)),
-    (String ((Ascii (true, false, false, true, false, true, true, false)),
-    (String ((Ascii (true, true, true, true, false, true, true, false)),
-    (String ((Ascii (false, true, true, true, false, true, true, false)),
-    EmptyString)))))))))))))))))))))))))))))))))))))))))))))), (S (S (S (S (S
-    (S (S (S (S (S O)))))))))))) :: ((SAlpha ((String ((Ascii (true, true,
-    false, false, false, false, true, false)), (String ((Ascii (true, true,
-    true, true, false, true, true, false)), (String ((Ascii (true, false,
-    true, true, false, true, true, false)), (String ((Ascii (false, false,
-    false, false, true, true, true, false)), (String ((Ascii (true, false,
-    false, false, false, true, true, false)), (String ((Ascii (false, true,
-    true, true, false, true, true, false)), (String ((Ascii (true, false,
-    false, true, true, true, true, false)), (String ((Ascii (false, false,
-    true, false, false, false, true, false)), (String ((Ascii (true, false,
-    true, false, false, true, true, false)), (String ((Ascii (true, true,
-    false, false, true, true, true, false)), (String ((Ascii (true, true,
-    false, false, false, true, true, false)), (String ((Ascii (false, true,
-    false, false, true, true, true, false)), (String ((Ascii (true, false,
-    false, true, false, true, true, false)), (String ((Ascii (false, false,
-    false, false, true, true, true, false)), (String ((Ascii (false, false,
-    true, false, true, true, true, false)), (String ((Ascii (true, false,
-    false, true, false, true, true, false)), (String ((Ascii (false, true,
-    true, false, true, true, true, false)), (String ((Ascii (true, false,
-    true, false, false, true, true, false)), (String ((Ascii (false, false,
-    true, false, false, false, true, false)), (String ((Ascii (true, false,
-    false, false, false, true, true, false)), (String ((Ascii (false, false,
-    true, false, true, true, true, false)), (String ((Ascii (true, false,
-    true, false, false, true, true, false)),
-    EmptyString)))))))))))))))))))))))))))))))))))))))))))), (S (S (S (S (S
-    (S O)))))))) :: ((SCustom ((String ((Ascii (false, true, false, false,
-    false, false, true, false)), (String ((Ascii (true, false, false, false,
-    false, true, true, false)), (String ((Ascii (false, false, true, false,
-    true, true, true, false)), (String ((Ascii (true, true, false, false,
-    false, true, true, false)), (String ((Ascii (false, false, false, true,
-    false, true, true, false)), (String ((Ascii (false, false, false, true,
-    false, false, true, false)), (String ((Ascii (true, false, true, false,
-    false, true, true, false)), (String ((Ascii (true, false, false, false,
-    false, true, true, false)), (String ((Ascii (false, false, true, false,
-    false, true, true, false)), (String ((Ascii (true, false, true, false,
-    false, true, true, false)), (String ((Ascii (false, true, false, false,
-    true, true, true, false)), (String ((Ascii (false, true, true, true,
-    false, true, false, false)), (String ((Ascii (true, false, true, false,
-    false, false, true, false)), (String ((Ascii (false, true, true, false,
-    false, true, true, false)), (String ((Ascii (false, true, true, false,
-    false, true, true, false)), (String ((Ascii (true, false, true, false,
-    false, true, true, false)), (String ((Ascii (true, true, false, false,
-    false, true, true, false)), (String ((Ascii (false, false, true, false,
-    true, true, true, false)), (String ((Ascii (true, false, false, true,
-    false, true, true, false)), (String ((Ascii (false, true, true, false,
-    true, true, true, false)), (String ((Ascii (true, false, true, false,
-    false, true, true, false)), (String ((Ascii (true, false, true, false,
-    false, false, true, false)), (String ((Ascii (false, true, true, true,
-    false, true, true, false)), (String ((Ascii (false, false, true, false,
-    true, true, true, false)), (String ((Ascii (false, true, false, false,
-    true, true, true, false)), (String ((Ascii (true, false, false, true,
-    true, true, true, false)), (String ((Ascii (false, false, true, false,
-    false, false, true, false)), (String ((Ascii (true, false, false, false,
-    false, true, true, false)), (String ((Ascii (false, false, true, false,
-    true, true, true, false)), (String ((Ascii (true, false, true, false,
-    false, true, true, false)), (String ((Ascii (false, true, true, false,
-    false, false, true, false)), (String ((Ascii (true, false, false, true,
-    false, true, true, false)), (String ((Ascii (true, false, true, false,
-    false, true, true, false)), (String ((Ascii (false, false, true, true,
-    false, true, true, false)), (String ((Ascii (false, false, true, false,
-    false, true, true, false)),
-    EmptyString)))))))))))))))))))))))))))))))))))))))))))))))))))))))))))))))))))))),
-    (String ((Ascii (false, true, false, false, true, true, false, false)),
-    (String ((Ascii (true, true, true, false, true, true, false, false)),
-    (String ((Ascii (false, true, true, false, false, true, true, false)),
-    (String ((Ascii (true, false, false, false, true, true, false, false)),
-    (String ((Ascii (true, true, true, false, true, true, false, false)),
-    (String ((Ascii (false, true, false, false, false, true, true, false)),
-    (String ((Ascii (false, true, true, false, true, true, false, false)),
-    (String ((Ascii (true, true, true, false, true, true, false, false)),
-    (String ((Ascii (true, true, true, false, true, true, false, false)),
-    (String ((Ascii (false, false, true, false, false, true, true, false)),
-    (String ((Ascii (false, true, false, false, false, true, true, false)),
-    (String ((Ascii (false, false, false, true, true, true, false, false)),
-    EmptyString)))))))))))))))))))))))))) :: ((SAlpha ((String ((Ascii (true,
-    true, false, false, true, false, true, false)), (String ((Ascii (true,
-    false, true, false, false, true, true, false)), (String ((Ascii (false,
-    false, true, false, true, true, true, false)), (String ((Ascii (false,
-    false, true, false, true, true, true, false)), (String ((Ascii (false,
-    false, true, true, false, true, true, false)), (String ((Ascii (true,
-    false, true, false, false, true, true, false)), (String ((Ascii (true,
-    false, true, true, false, true, true, false)), (String ((Ascii (true,
-    false, true, false, false, true, true, false)), (String ((Ascii (false,
-    true, true, true, false, true, true, false)), (String ((Ascii (false,
-    false, true, false, true, true, true, false)), (String ((Ascii (false,
-    false, true, false, false, false, true, false)), (String ((Ascii (true,
-    false, false, false, false, true, true, false)), (String ((Ascii (false,
-    false, true, false, true, true, true, false)), (String ((Ascii (true,
-    false, true, false, false, true, true, false)),
-    EmptyString)))))))))))))))))))))))))))), (S (S (S O))))) :: ((SItoa
-    (String ((Ascii (true, true, true, true, false, false, true, false)),
-    (String ((Ascii (false, true, false, false, true, true, true, false)),
-    (String ((Ascii (true, false, false, true, false, true, true, false)),
-    (String ((Ascii (true, true, true, false, false, true, true, false)),
-    (String ((Ascii (true, false, false, true, false, true, true, false)),
-    (String ((Ascii (false, true, true, true, false, true, true, false)),
-    (String ((Ascii (true, false, false, false, false, true, true, false)),
-    (String ((Ascii (false, false, true, false, true, true, true, false)),
-    (String ((Ascii (true, true, true, true, false, true, true, false)),
-    (String ((Ascii (false, true, false, false, true, true, true, false)),
-    (String ((Ascii (true, true, false, false, true, false, true, false)),
-    (String ((Ascii (false, false, true, false, true, true, true, false)),
-    (String ((Ascii (true, false, false, false, false, true, true, false)),
-    (String ((Ascii (false, false, true, false, true, true, true, false)),
-    (String ((Ascii (true, false, true, false, true, true, true, false)),
-    (String ((Ascii (true, true, false, false, true, true, true, false)),
-    (String ((Ascii (true, true, false, false, false, false, true, false)),
-    (String ((Ascii (true, true, true, true, false, true, true, false)),
-    (String ((Ascii (false, false, true, false, false, true, true, false)),
-    (String ((Ascii (true, false, true, false, false, true, true, false)),
-    EmptyString))))))))))))))))))))))))))))))))))))))))) :: ((SStr ((String
-    ((Ascii (true, true, true, true, false, false, true, false)), (String
-    ((Ascii (false, false, true, false, false, false, true, false)), (String
-    ((Ascii (false, true, true, false, false, false, true, false)), (String
-    ((Ascii (true, false, false, true, false, false, true, false)), (String
-    ((Ascii (true, false, false, true, false, false, true, false)), (String
-    ((Ascii (false, false, true, false, false, true, true, false)), (String
-    ((Ascii (true, false, true, false, false, true, true, false)), (String
-    ((Ascii (false, true, true, true, false, true, true, false)), (String
-    ((Ascii (false, false, true, false, true, true, true, false)), (String
-    ((Ascii (true, false, false, true, false, true, true, false)), (String
-    ((Ascii (false, true, true, false, false, true, true, false)), (String
-    ((Ascii (true, false, false, true, false, true, true, false)), (String
-    ((Ascii (true, true, false, false, false, true, true, false)), (String
-    ((Ascii (true, false, false, false, false, true, true, false)), (String
-    ((Ascii (false, false, true, false, true, true, true, false)), (String
-    ((Ascii (true, false, false, true, false, true, true, false)), (String
-    ((Ascii (true, true, true, true, false, true, true, false)), (String
-    ((Ascii (false, true, true, true, false, true, true, false)),
-    EmptyString)))))))))))))))))))))))))))))))))))), (S (S (S (S (S (S (S (S
-    O)))))))))) :: ((SNum ((String ((Ascii (false, true, false, false, false,
-    false, true, false)), (String ((Ascii (true, false, false, false, false,
-    true, true, false)), (String ((Ascii (false, false, true, false, true,
-    true, true, false)), (String ((Ascii (true, true, false, false, false,
-    true, true, false)), (String ((Ascii (false, false, false, true, false,
-    true, true, false)), (String ((Ascii (false, true, true, true, false,
-    false, true, false)), (String ((Ascii (true, false, true, false, true,
-    true, true, false)), (String ((Ascii (true, false, true, true, false,
-    true, true, false)), (String ((Ascii (false, true, false, false, false,
-    true, true, false)), (String ((Ascii (true, false, true, false, false,
-    true, true, false)), (String ((Ascii (false, true, false, false, true,
-    true, true, false)), EmptyString)))))))))))))))))))))), (S (S (S (S (S (S
-    (S O))))))))) :: []))))))))))))); l_cuts =
-    ((mkcut O (S O) EmptyString []) :: ((mkcut (S O) (S (S (S (S O))))
-                                          (String ((Ascii (true, true, false,
-                                          false, true, false, true, false)),
-                                          (String ((Ascii (true, false, true,
-                                          false, false, true, true, false)),
-                                          (String ((Ascii (false, true,
-                                          false, false, true, true, true,
-                                          false)), (String ((Ascii (false,
-                                          true, true, false, true, true,
-                                          true, false)), (String ((Ascii
-                                          (true, false, false, true, false,
-                                          true, true, false)), (String
-                                          ((Ascii (true, true, false, false,
-                                          false, true, true, false)), (String
-                                          ((Ascii (true, false, true, false,
-                                          false, true, true, false)), (String
-                                          ((Ascii (true, true, false, false,
-                                          false, false, true, false)),
-                                          (String ((Ascii (false, false,
-                                          true, true, false, true, true,
-                                          false)), (String ((Ascii (true,
-                                          false, false, false, false, true,
-                                          true, false)), (String ((Ascii
-                                          (true, true, false, false, true,
-                                          true, true, false)), (String
-                                          ((Ascii (true, true, false, false,
-                                          true, true, true, false)), (String
-                                          ((Ascii (true, true, false, false,
-                                          false, false, true, false)),
-                                          (String ((Ascii (true, true, true,
-                                          true, false, true, true, false)),
-                                          (String ((Ascii (false, false,
-                                          true, false, false, true, true,
-                                          false)), (String ((Ascii (true,
-                                          false, true, false, false, true,
-                                          true, false)),
-                                          EmptyString))))))))))))))))))))))))))))))))
-                                          ((String ((Ascii (false, false,
-                                          false, false, true, true, true,
-                                          false)), (String ((Ascii (true,
-                                          false, false, false, false, true,
-                                          true, false)), (String ((Ascii
-                                          (false, true, false, false, true,
-                                          true, true, false)), (String
-                                          ((Ascii (true, true, false, false,
-                                          true, true, true, false)), (String
-                                          ((Ascii (true, false, true, false,
-                                          false, true, true, false)), (String
-                                          ((Ascii (false, true, true, true,
-                                          false, false, true, false)),
-                                          (String ((Ascii (true, false, true,
-                                          false, true, true, true, false)),
-                                          (String ((Ascii (true, false, true,
-                                          true, false, true, true, false)),
-                                          (String ((Ascii (false, true, true,
-                                          false, false, false, true, false)),
-                                          (String ((Ascii (true, false,
-                                          false, true, false, true, true,
-                                          false)), (String ((Ascii (true,
-                                          false, true, false, false, true,
-                                          true, false)), (String ((Ascii
-                                          (false, false, true, true, false,
-                                          true, true, false)), (String
-                                          ((Ascii (false, false, true, false,
-                                          false, true, true, false)),
-                                          EmptyString)))))))))))))))))))))))))) :: [])) :: (
-    (mkcut (S (S (S (S O)))) (S (S (S (S (S (S (S (S (S (S (S (S (S (S (S (S
-      (S (S (S (S O)))))))))))))))))))) (String ((Ascii (true, true, false,
-      false, false, false, true, false)), (String ((Ascii (true, true, true,
-      true, false, true, true, false)), (String ((Ascii (true, false, true,
-      true, false, true, true, false)), (String ((Ascii (false, false, false,
-      false, true, true, true, false)), (String ((Ascii (true, false, false,
-      false, false, true, true, false)), (String ((Ascii (false, true, true,
-      true, false, true, true, false)), (String ((Ascii (true, false, false,
-      true, true, true, true, false)), (String ((Ascii (false, true, true,
-      true, false, false, true, false)), (String ((Ascii (true, false, false,
-      false, false, true, true, false)), (String ((Ascii (true, false, true,
-      true, false, true, true, false)), (String ((Ascii (true, false, true,
-      false, false, true, true, false)), EmptyString))))))))))))))))))))))
-      ((String ((Ascii (false, false, false, false, true, true, true,
-      false)), (String ((Ascii (true, false, false, false, false, true, true,
-      false)), (String ((Ascii (false, true, false, false, true, true, true,
-      false)), (String ((Ascii (true, true, false, false, true, true, true,
-      false)), (String ((Ascii (true, false, true, false, false, true, true,
-      false)), (String ((Ascii (true, true, false, false, true, false, true,
-      false)), (String ((Ascii (false, false, true, false, true, true, true,
-      false)), (String ((Ascii (false, true, false, false, true, true, true,
-      false)), (String ((Ascii (true, false, false, true, false, true, true,
-      false)), (String ((Ascii (false, true, true, true, false, true, true,
-      false)), (String ((Ascii (true, true, true, false, false, true, true,
-      false)), (String ((Ascii (false, true, true, false, false, false, true,
-      false)), (String ((Ascii (true, false, false, true, false, true, true,
-      false)), (String ((Ascii (true, false, true, false, false, true, true,
-      false)), (String ((Ascii (false, false, true, true, false, true, true,
-      false)), (String ((Ascii (false, false, true, false, false, true, true,
-      false)), (String ((Ascii (true, true, true, false, true, false, true,
-      false)), (String ((Ascii (true, false, false, true, false, true, true,
-      false)), (String ((Ascii (false, false, true, false, true, true, true,
-      false)), (String ((Ascii (false, false, false, true, false, true, true,
-      false)), (String ((Ascii (true, true, true, true, false, false, true,
-      false)), (String ((Ascii (false, false, false, false, true, true, true,
-      false)), (String ((Ascii (false, false, true, false, true, true, true,
-      false)), (String ((Ascii (true, true, false, false, true, true, true,
-      false)),
-      EmptyString)))))))))))))))))))))))))))))))))))))))))))))))) :: [])) :: (
-    (mkcut (S (S (S (S (S (S (S (S (S (S (S (S (S (S (S (S (S (S (S (S
-      O)))))))))))))))))))) (S (S (S (S (S (S (S (S (S (S (S (S (S (S (S (S
-      (S (S (S (S (S (S (S (S (S (S (S (S (S (S (S (S (S (S (S (S (S (S (S (S
-      O)))))))))))))))))))))))))))))))))))))))) (String ((Ascii (true, true,
-      false, false, false, false, true, false)), (String ((Ascii (true, true,
-      true, true, false, true, true, false)), (String ((Ascii (true, false,
-      true, true, false, true, true, false)), (String ((Ascii (false, false,
-      false, false, true, true, true, false)), (String ((Ascii (true, false,
-      false, false, false, true, true, false)), (String ((Ascii (false, true,
-      true, true, false, true, true, false)), (String ((Ascii (true, false,
-      false, true, true, true, true, false)), (String ((Ascii (false, false,
-      true, false, false, false, true, false)), (String ((Ascii (true, false,
-      false, true, false, true, true, false)), (String ((Ascii (true, true,
-      false, false, true, true, true, false)), (String ((Ascii (true, true,
-      false, false, false, true, true, false)), (String ((Ascii (false, true,
-      false, false, true, true, true, false)), (String ((Ascii (true, false,
-      true, false, false, true, true, false)), (String ((Ascii (false, false,
-      true, false, true, true, true, false)), (String ((Ascii (true, false,
-      false, true, false, true, true, false)), (String ((Ascii (true, true,
-      true, true, false, true, true, false)), (String ((Ascii (false, true,
-      true, true, false, true, true, false)), (String ((Ascii (true, false,
-      false, false, false, true, true, false)), (String ((Ascii (false, true,
-      false, false, true, true, true, false)), (String ((Ascii (true, false,
-      false, true, true, true, true, false)), (String ((Ascii (false, false,
-      true, false, false, false, true, false)), (String ((Ascii (true, false,
-      false, false, false, true, true, false)), (String ((Ascii (false,
-      false, true, false, true, true, true, false)), (String ((Ascii (true,
-      false, false, false, false, true, true, false)),
-      EmptyString)))))))))))))))))))))))))))))))))))))))))))))))) ((String
-      ((Ascii (false, false, false, false, true, true, true, false)), (String
-      ((Ascii (true, false, false, false, false, true, true, false)), (String
-      ((Ascii (false, true, false, false, true, true, true, false)), (String
-      ((Ascii (true, true, false, false, true, true, true, false)), (String
-      ((Ascii (true, false, true, false, false, true, true, false)), (String
-      ((Ascii (true, true, false, false, true, false, true, false)), (String
-      ((Ascii (false, false, true, false, true, true, true, false)), (String
-      ((Ascii (false, true, false, false, true, true, true, false)), (String
-      ((Ascii (true, false, false, true, false, true, true, false)), (String
-      ((Ascii (false, true, true, true, false, true, true, false)), (String
-      ((Ascii (true, true, true, false, false, true, true, false)), (String
-      ((Ascii (false, true, true, false, false, false, true, false)), (String
-      ((Ascii (true, false, false, true, false, true, true, false)), (String
-      ((Ascii (true, false, true, false, false, true, true, false)), (String
-      ((Ascii (false, false, true, true, false, true, true, false)), (String
-      ((Ascii (false, false, true, false, false, true, true, false)), (String
-      ((Ascii (true, true, true, false, true, false, true, false)), (String
-      ((Ascii (true, false, false, true, false, true, true, false)), (String
-      ((Ascii (false, false, true, false, true, true, true, false)), (String
-      ((Ascii (false, false, false, true, false, true, true, false)), (String
-      ((Ascii (true, true, true, true, false, false, true, false)), (String
-      ((Ascii (false, false, false, false, true, true, true, false)), (String
-      ((Ascii (false, false, true, false, true, true, true, false)), (String
-      ((Ascii (true, true, false, false, true, true, true, false)),
-      EmptyString)))))))))))))))))))))))))))))))))))))))))))))))) :: [])) :: (
-    (mkcut (S (S (S (S (S (S (S (S (S (S (S (S (S (S (S (S (S (S (S (S (S (S
-      (S (S (S (S (S (S (S (S (S (S (S (S (S (S (S (S (S (S
-      O)))))))))))))))))))))))))))))))))))))))) (S (S (S (S (S (S (S (S (S (S
-      (S (S (S (S (S (S (S (S (S (S (S (S (S (S (S (S (S (S (S (S (S (S (S (S
-      (S (S (S (S (S (S (S (S (S (S (S (S (S (S (S (S
-      O)))))))))))))))))))))))))))))))))))))))))))))))))) (String ((Ascii
-      (true, true, false, false, false, false, true, false)), (String ((Ascii
-      (true, true, true, true, false, true, true, false)), (String ((Ascii
-      (true, false, true, true, false, true, true, false)), (String ((Ascii
-      (false, false, false, false, true, true, true, false)), (String ((Ascii
-      (true, false, false, false, false, true, true, false)), (String ((Ascii
-      (false, true, true, true, false, true, true, false)), (String ((Ascii
-      (true, false, false, true, true, true, true, false)), (String ((Ascii
-      (true, false, false, true, false, false, true, false)), (String ((Ascii
-      (false, false, true, false, false, true, true, false)), (String ((Ascii
-      (true, false, true, false, false, true, true, false)), (String ((Ascii
-      (false, true, true, true, false, true, true, false)), (String ((Ascii
-      (false, false, true, false, true, true, true, false)), (String ((Ascii
-      (true, false, false, true, false, true, true, false)), (String ((Ascii
-      (false, true, true, false, false, true, true, false)), (String ((Ascii
-      (true, false, false, true, false, true, true, false)), (String ((Ascii
-      (true, true, false, false, false, true, true, false)), (String ((Ascii
-      (true, false, false, false, false, true, true, false)), (String ((Ascii
-      (false, false, true, false, true, true, true, false)), (String ((Ascii
-      (true, false, false, true, false, true, true, false)), (String ((Ascii
-      (true, true, true, true, false, true, true, false)), (String ((Ascii
-      (false, true, true, true, false, true, true, false)),
-      EmptyString)))))))))))))))))))))))))))))))))))))))))) ((String ((Ascii
-      (false, false, false, false, true, true, true, false)), (String ((Ascii
-      (true, false, false, false, false, true, true, false)), (String ((Ascii
-      (false, true, false, false, true, true, true, false)), (String ((Ascii
-      (true, true, false, false, true, true, true, false)), (String ((Ascii
-      (true, false, true, false, false, true, true, false)), (String ((Ascii
-      (true, true, false, false, true, false, true, false)), (String ((Ascii
-      (false, false, true, false, true, true, true, false)), (String ((Ascii
-      (false, true, false, false, true, true, true, false)), (String ((Ascii
-      (true, false, false, true, false, true, true, false)), (String ((Ascii
-      (false, true, true, true, false, true, true, false)), (String ((Ascii
-      (true, true, true, false, false, true, true, false)), (String ((Ascii
-      (false, true, true, false, false, false, true, false)), (String ((Ascii
-      (true, false, false, true, false, true, true, false)), (String ((Ascii
-      (true, false, true, false, false, true, true, false)), (String ((Ascii
-      (false, false, true, true, false, true, true, false)), (String ((Ascii
-      (false, false, true, false, false, true, true, false)), (String ((Ascii
-      (true, true, true, false, true, false, true, false)), (String ((Ascii
-      (true, false, false, true, false, true, true, false)), (String ((Ascii
-      (false, false, true, false, true, true, true, false)), (String ((Ascii
-      (false, false, false, true, false, true, true, false)), (String ((Ascii
-      (true, true, true, true, false, false, true, false)), (String ((Ascii
-      (false, false, false, false, true, true, true, false)), (String ((Ascii
-      (false, false, true, false, true, true, true, false)), (String ((Ascii
-      (true, true, false, false, true, true, true, false)),
-      EmptyString)))))))))))))))))))))))))))))))))))))))))))))))) :: [])) :: (
-    (mkcut (S (S (S (S (S (S (S (S (S (S (S (S (S (S (S (S (S (S (S (S (S (S
-      (S (S (S (S (S (S (S (S (S (S (S (S (S (S (S (S (S (S (S (S (S (S (S (S
-      (S (S (S (S O)))))))))))))))))))))))))))))))))))))))))))))))))) (S (S
-      (S (S (S (S (S (S (S (S (S (S (S (S (S (S (S (S (S (S (S (S (S (S (S (S
-      (S (S (S (S (S (S (S (S (S (S (S (S (S (S (S (S (S (S (S (S (S (S (S (S
-      (S (S (S O))))))))))))))))))))))))))))))))))))))))))))))))))))) (String
-      ((Ascii (true, true, false, false, true, false, true, false)), (String
-      ((Ascii (false, false, true, false, true, true, true, false)), (String
-      ((Ascii (true, false, false, false, false, true, true, false)), (String
-      ((Ascii (false, true, true, true, false, true, true, false)), (String
-      ((Ascii (false, false, true, false, false, true, true, false)), (String
-      ((Ascii (true, false, false, false, false, true, true, false)), (String
-      ((Ascii (false, true, false, false, true, true, true, false)), (String
-      ((Ascii (false, false, true, false, false, true, true, false)), (String
-      ((Ascii (true, false, true, false, false, false, true, false)), (String
-      ((Ascii (false, true, true, true, false, true, true, false)), (String
-      ((Ascii (false, false, true, false, true, true, true, false)), (String
-      ((Ascii (false, true, false, false, true, true, true, false)), (String
-      ((Ascii (true, false, false, true, true, true, true, false)), (String
-      ((Ascii (true, true, false, false, false, false, true, false)), (String
-      ((Ascii (false, false, true, true, false, true, true, false)), (String
-      ((Ascii (true, false, false, false, false, true, true, false)), (String
-      ((Ascii (true, true, false, false, true, true, true, false)), (String
-      ((Ascii (true, true, false, false, true, true, true, false)), (String
-      ((Ascii (true, true, false, false, false, false, true, false)), (String
-      ((Ascii (true, true, true, true, false, true, true, false)), (String
-      ((Ascii (false, false, true, false, false, true, true, false)), (String
-      ((Ascii (true, false, true, false, false, true, true, false)),
-      EmptyString)))))))))))))))))))))))))))))))))))))))))))) []) :: (
-    (mkcut (S (S (S (S (S (S (S (S (S (S (S (S (S (S (S (S (S (S (S (S (S (S
-      (S (S (S (S (S (S (S (S (S (S (S (S (S (S (S (S (S (S (S (S (S (S (S (S
-      (S (S (S (S (S (S (S
-      O))))))))))))))))))))))))))))))))))))))))))))))))))))) (S (S (S (S (S
-      (S (S (S (S (S (S (S (S (S (S (S (S (S (S (S (S (S (S (S (S (S (S (S (S
-      (S (S (S (S (S (S (S (S (S (S (S (S (S (S (S (S (S (S (S (S (S (S (S (S
-      (S (S (S (S (S (S (S (S (S (S
-      O)))))))))))))))))))))))))))))))))))))))))))))))))))))))))))))))
-      (String ((Ascii (true, true, false, false, false, false, true, false)),
-      (String ((Ascii (true, true, true, true, false, true, true, false)),
-      (String ((Ascii (true, false, true, true, false, true, true, false)),
-      (String ((Ascii (false, false, false, false, true, true, true, false)),
-      (String ((Ascii (true, false, false, false, false, true, true, false)),
-      (String ((Ascii (false, true, true, true, false, true, true, false)),
-      (String ((Ascii (true, false, false, true, true, true, true, false)),
-      (String ((Ascii (true, false, true, false, false, false, true, false)),
-      (String ((Ascii (false, true, true, true, false, true, true, false)),
-      (String ((Ascii (false, false, true, false, true, true, true, false)),
-      (String ((Ascii (false, true, false, false, true, true, true, false)),
-      (String ((Ascii (true, false, false, true, true, true, true, false)),
-      (String ((Ascii (false, false, true, false, false, false, true,
-      false)), (String ((Ascii (true, false, true, false, false, true, true,
-      false)), (String ((Ascii (true, true, false, false, true, true, true,
-      false)), (String ((Ascii (true, true, false, false, false, true, true,
-      false)), (String ((Ascii (false, true, false, false, true, true, true,
-      false)), (String ((Ascii (true, false, false, true, false, true, true,
-      false)), (String ((Ascii (false, false, false, false, true, true, true,
-      false)), (String ((Ascii (false, false, true, false, true, true, true,
-      false)), (String ((Ascii (true, false, false, true, false, true, true,
-      false)), (String ((Ascii (true, true, true, true, false, true, true,
-      false)), (String ((Ascii (false, true, true, true, false, true, true,
-      false)), EmptyString))))))))))))))))))))))))))))))))))))))))))))))
-      ((String ((Ascii (false, false, false, false, true, true, true,
-      false)), (String ((Ascii (true, false, false, false, false, true, true,
-      false)), (String ((Ascii (false, true, false, false, true, true, true,
-      false)), (String ((Ascii (true, true, false, false, true, true, true,
-      false)), (String ((Ascii (true, false, true, false, false, true, true,
-      false)), (String ((Ascii (true, true, false, false, true, false, true,
-      false)), (String ((Ascii (false, false, true, false, true, true, true,
-      false)), (String ((Ascii (false, true, false, false, true, true, true,
-      false)), (String ((Ascii (true, false, false, true, false, true, true,
-      false)), (String ((Ascii (false, true, true, true, false, true, true,
-      false)), (String ((Ascii (true, true, true, false, false, true, true,
-      false)), (String ((Ascii (false, true, true, false, false, false, true,
-      false)), (String ((Ascii (true, false, false, true, false, true, true,
-      false)), (String ((Ascii (true, false, true, false, false, true, true,
-      false)), (String ((Ascii (false, false, true, true, false, true, true,
-      false)), (String ((Ascii (false, false, true, false, false, true, true,
-      false)), (String ((Ascii (true, true, true, false, true, false, true,
-      false)), (String ((Ascii (true, false, false, true, false, true, true,
-      false)), (String ((Ascii (false, false, true, false, true, true, true,
-      false)), (String ((Ascii (false, false, false, true, false, true, true,
-      false)), (String ((Ascii (true, true, true, true, false, false, true,
-      false)), (String ((Ascii (false, false, false, false, true, true, true,
-      false)), (String ((Ascii (false, false, true, false, true, true, true,
-      false)), (String ((Ascii (true, true, false, false, true, true, true,
-      false)),
-      EmptyString)))))))))))))))))))))))))))))))))))))))))))))))) :: [])) :: (
-    (mkcut (S (S (S (S (S (S (S (S (S (S (S (S (S (S (S (S (S (S (S (S (S (S
-      (S (S (S (S (S (S (S (S (S (S (S (S (S (S (S (S (S (S (S (S (S (S (S (S
-      (S (S (S (S (S (S (S (S (S (S (S (S (S (S (S (S (S
-      O))))))))))))))))))))))))))))))))))))))))))))))))))))))))))))))) (S (S
-      (S (S (S (S (S (S (S (S (S (S (S (S (S (S (S (S (S (S (S (S (S (S (S (S
-      (S (S (S (S (S (S (S (S (S (S (S (S (S (S (S (S (S (S (S (S (S (S (S (S
-      (S (S (S (S (S (S (S (S (S (S (S (S (S (S (S (S (S (S (S
-      O)))))))))))))))))))))))))))))))))))))))))))))))))))))))))))))))))))))
-      (String ((Ascii (true, true, false, false, false, false, true, false)),
-      (String ((Ascii (true, true, true, true, false, true, true, false)),
-      (String ((Ascii (true, false, true, true, false, true, true, false)),
-      (String ((Ascii (false, false, false, false, true, true, true, false)),
-      (String ((Ascii (true, false, false, false, false, true, true, false)),
-      (String ((Ascii (false, true, true, true, false, true, true, false)),
-      (String ((Ascii (true, false, false, true, true, true, true, false)),
-      (String ((Ascii (false, false, true, false, false, false, true,
-      false)), (String ((Ascii (true, false, true, false, false, true, true,
-      false)), (String ((Ascii (true, true, false, false, true, true, true,
-      false)), (String ((Ascii (true, true, false, false, false, true, true,
-      false)), (String ((Ascii (false, true, false, false, true, true, true,
-      false)), (String ((Ascii (true, false, false, true, false, true, true,
-      false)), (String ((Ascii (false, false, false, false, true, true, true,
-      false)), (String ((Ascii (false, false, true, false, true, true, true,
-      false)), (String ((Ascii (true, false, false, true, false, true, true,
-      false)), (String ((Ascii (false, true, true, false, true, true, true,
-      false)), (String ((Ascii (true, false, true, false, false, true, true,
-      false)), (String ((Ascii (false, false, true, false, false, false,
-      true, false)), (String ((Ascii (true, false, false, false, false, true,
-      true, false)), (String ((Ascii (false, false, true, false, true, true,
-      true, false)), (String ((Ascii (true, false, true, false, false, true,
-      true, false)), EmptyString))))))))))))))))))))))))))))))))))))))))))))
-      ((String ((Ascii (false, false, false, false, true, true, true,
-      false)), (String ((Ascii (true, false, false, false, false, true, true,
-      false)), (String ((Ascii (false, true, false, false, true, true, true,
-      false)), (String ((Ascii (true, true, false, false, true, true, true,
-      false)), (String ((Ascii (true, false, true, false, false, true, true,
-      false)), (String ((Ascii (true, true, false, false, true, false, true,
-      false)), (String ((Ascii (false, false, true, false, true, true, true,
-      false)), (String ((Ascii (false, true, false, false, true, true, true,
-      false)), (String ((Ascii (true, false, false, true, false, true, true,
-      false)), (String ((Ascii (false, true, true, true, false, true, true,
-      false)), (String ((Ascii (true, true, true, false, false, true, true,
-      false)), (String ((Ascii (false, true, true, false, false, false, true,
-      false)), (String ((Ascii (true, false, false, true, false, true, true,
-      false)), (String ((Ascii (true, false, true, false, false, true, true,
-      false)), (String ((Ascii (false, false, true, true, false, true, true,
-      false)), (String ((Ascii (false, false, true, false, false, true, true,
-      false)), (String ((Ascii (true, true, true, false, true, false, true,
-      false)), (String ((Ascii (true, false, false, true, false, true, true,
-      false)), (String ((Ascii (false, false, true, false, true, true, true,
-      false)), (String ((Ascii (false, false, false, true, false, true, true,
-      false)), (String ((Ascii (true, true, true, true, false, false, true,
-      false)), (String ((Ascii (false, false, false, false, true, true, true,
-      false)), (String ((Ascii (false, false, true, false, true, true, true,
-      false)), (String ((Ascii (true, true, false, false, true, true, true,
-      false)),
-      EmptyString)))))))))))))))))))))))))))))))))))))))))))))))) :: [])) :: (
-    (mkcut (S (S (S (S (S (S (S (S (S (S (S (S (S (S (S (S (S (S (S (S (S (S
-      (S (S (S (S (S (S (S (S (S (S (S (S (S (S (S (S (S (S (S (S (S (S (S (S
-      (S (S (S (S (S (S (S (S (S (S (S (S (S (S (S (S (S (S (S (S (S (S (S
-      O)))))))))))))))))))))))))))))))))))))))))))))))))))))))))))))))))))))
-      (S (S (S (S (S (S (S (S (S (S (S (S (S (S (S (S (S (S (S (S (S (S (S (S
-      (S (S (S (S (S (S (S (S (S (S (S (S (S (S (S (S (S (S (S (S (S (S (S (S
-      (S (S (S (S (S (S (S (S (S (S (S (S (S (S (S (S (S (S (S (S (S (S (S (S
-      (S (S (S
-      O)))))))))))))))))))))))))))))))))))))))))))))))))))))))))))))))))))))))))))
-      (String ((Ascii (true, false, true, false, false, false, true, false)),
-      (String ((Ascii (false, true, true, false, false, true, true, false)),
-      (String ((Ascii (false, true, true, false, false, true, true, false)),
-      (String ((Ascii (true, false, true, false, false, true, true, false)),
-      (String ((Ascii (true, true, false, false, false, true, true, false)),
-      (String ((Ascii (false, false, true, false, true, true, true, false)),
-      (String ((Ascii (true, false, false, true, false, true, true, false)),
-      (String ((Ascii (false, true, true, false, true, true, true, false)),
-      (String ((Ascii (true, false, true, false, false, true, true, false)),
-      (String ((Ascii (true, false, true, false, false, false, true, false)),
-      (String ((Ascii (false, true, true, true, false, true, true, false)),
-      (String ((Ascii (false, false, true, false, true, true, true, false)),
-      (String ((Ascii (false, true, false, false, true, true, true, false)),
-      (String ((Ascii (true, false, false, true, true, true, true, false)),
-      (String ((Ascii (false, false, true, false, false, false, true,
-      false)), (String ((Ascii (true, false, false, false, false, true, true,
-      false)), (String ((Ascii (false, false, true, false, true, true, true,
-      false)), (String ((Ascii (true, false, true, false, false, true, true,
-      false)), EmptyString)))))))))))))))))))))))))))))))))))) ((String
-      ((Ascii (false, true, true, false, true, true, true, false)), (String
-      ((Ascii (true, false, false, false, false, true, true, false)), (String
-      ((Ascii (false, false, true, true, false, true, true, false)), (String
-      ((Ascii (true, false, false, true, false, true, true, false)), (String
-      ((Ascii (false, false, true, false, false, true, true, false)), (String
-      ((Ascii (true, false, false, false, false, true, true, false)), (String
-      ((Ascii (false, false, true, false, true, true, true, false)), (String
-      ((Ascii (true, false, true, false, false, true, true, false)), (String
-      ((Ascii (true, true, false, false, true, false, true, false)), (String
-      ((Ascii (true, false, false, true, false, true, true, false)), (String
-      ((Ascii (true, false, true, true, false, true, true, false)), (String
-      ((Ascii (false, false, false, false, true, true, true, false)), (String
-      ((Ascii (false, false, true, true, false, true, true, false)), (String
-      ((Ascii (true, false, true, false, false, true, true, false)), (String
-      ((Ascii (false, false, true, false, false, false, true, false)),
-      (String ((Ascii (true, false, false, false, false, true, true, false)),
-      (String ((Ascii (false, false, true, false, true, true, true, false)),
-      (String ((Ascii (true, false, true, false, false, true, true, false)),
-      EmptyString)))))))))))))))))))))))))))))))))))) :: [])) :: ((mkcut (S
-                                                                    (S (S (S
-                                                                    (S (S (S
-                                                                    (S (S (S
-                                                                    (S (S (S
-                                                                    (S (S (S
-                                                                    (S (S (S
-                                                                    (S (S (S
-                                                                    (S (S (S
-                                                                    (S (S (S
-                                                                    (S (S (S
-                                                                    (S (S (S
-                                                                    (S (S (S
-                                                                    (S (S (S
-                                                                    (S (S (S
-                                                                    (S (S (S
-                                                                    (S (S (S
-                                                                    (S (S (S
-                                                                    (S (S (S
-                                                                    (S (S (S
-                                                                    (S (S (S
-                                                                    (S (S (S
-                                                                    (S (S (S
-                                                                    (S (S (S
-                                                                    (S (S (S
-                                                                    (S (S
-                                                                    O)))))))))))))))))))))))))))))))))))))))))))))))))))))))))))))))))))))))))))
-                                                                    (S (S (S
-                                                                    (S (S (S
-                                                                    (S (S (S
-                                                                    (S (S (S
-                                                                    (S (S (S
-                                                                    (S (S (S
-                                                                    (S (S (S
-                                                                    (S (S (S
-                                                                    (S (S (S
-                                                                    (S (S (S
-                                                                    (S (S (S
-                                                                    (S (S (S
-                                                                    (S (S (S
-                                                                    (S (S (S
-                                                                    (S (S (S
-                                                                    (S (S (S
-                                                                    (S (S (S
-                                                                    (S (S (S
-                                                                    (S (S (S
-                                                                    (S (S (S
-                                                                    (S (S (S
-                                                                    (S (S (S
-                                                                    (S (S (S
-                                                                    (S (S (S
-                                                                    (S (S (S
-                                                                    (S (S (S
-                                                                    O))))))))))))))))))))))))))))))))))))))))))))))))))))))))))))))))))))))))))))))
-                                                                    (String
-                                                                    ((Ascii
-                                                                    (true,
-                                                                    true,
-                                                                    false,
-                                                                    false,
-                                                                    true,
-                                                                    false,
-                                                                    true,
-                                                                    false)),
-                                                                    (String
-                                                                    ((Ascii
-                                                                    (true,
-                                                                    false,
-                                                                    true,
-                                                                    false,
-                                                                    false,
-                                                                    true,
-                                                                    true,
-                                                                    false)),
-                                                                    (String
-                                                                    ((Ascii
-                                                                    (false,
-                                                                    false,
-                                                                    true,
-                                                                    false,
-                                                                    true,
-                                                                    true,
-                                                                    true,
-                                                                    false)),
-                                                                    (String
-                                                                    ((Ascii
-                                                                    (false,
-                                                                    false,
-                                                                    true,
-                                                                    false,
-                                                                    true,
-                                                                    true,
-                                                                    true,
-                                                                    false)),
-                                                                    (String
-                                                                    ((Ascii
-                                                                    (false,
-                                                                    false,
-                                                                    true,
-                                                                    true,
-                                                                    false,
-                                                                    true,
-                                                                    true,
-                                                                    false)),
-                                                                    (String
-                                                                    ((Ascii
-                                                                    (true,
-                                                                    false,
-                                                                    true,
-                                                                    false,
-                                                                    false,
-                                                                    true,
-                                                                    true,
-                                                                    false)),
-                                                                    (String
-                                                                    ((Ascii
-                                                                    (true,
-                                                                    false,
-                                                                    true,
-                                                                    true,
-                                                                    false,
-                                                                    true,
-                                                                    true,
-                                                                    false)),
-                                                                    (String
-                                                                    ((Ascii
-                                                                    (true,
-                                                                    false,
-                                                                    true,
-                                                                    false,
-                                                                    false,
-                                                                    true,
-                                                                    true,
-                                                                    false)),
-                                                                    (String
-                                                                    ((Ascii
-                                                                    (false,
-                                                                    true,
-                                                                    true,
-                                                                    true,
-                                                                    false,
-                                                                    true,
-                                                                    true,
-                                                                    false)),
-                                                                    (String
-                                                                    ((Ascii
-                                                                    (false,
-                                                                    false,
-                                                                    true,
-                                                                    false,
-                                                                    true,
-                                                                    true,
-                                                                    true,
-                                                                    false)),
-                                                                    (String
-                                                                    ((Ascii
-                                                                    (false,
-                                                                    false,
-                                                                    true,
-                                                                    false,
-                                                                    false,
-                                                                    false,
-                                                                    true,
-                                                                    false)),
-                                                                    (String
-                                                                    ((Ascii
-                                                                    (true,
-                                                                    false,
-                                                                    false,
-                                                                    false,
-                                                                    false,
-                                                                    true,
-                                                                    true,
-                                                                    false)),
-                                                                    (String
-                                                                    ((Ascii
-                                                                    (false,
-                                                                    false,
-                                                                    true,
-                                                                    false,
-                                                                    true,
-                                                                    true,
-                                                                    true,
-                                                                    false)),
-                                                                    (String
-                                                                    ((Ascii
-                                                                    (true,
-                                                                    false,
-                                                                    true,
-                                                                    false,
-                                                                    false,
-                                                                    true,
-                                                                    true,
-                                                                    false)),
-                                                                    EmptyString))))))))))))))))))))))))))))
-                                                                    ((String
-                                                                    ((Ascii
-                                                                    (false,
-                                                                    true,
-                                                                    true,
-                                                                    false,
-                                                                    true,
-                                                                    true,
-                                                                    true,
-                                                                    false)),
-                                                                    (String
-                                                                    ((Ascii
-                                                                    (true,
-                                                                    false,
-                                                                    false,
-                                                                    false,
-                                                                    false,
-                                                                    true,
-                                                                    true,
-                                                                    false)),
-                                                                    (String
-                                                                    ((Ascii
-                                                                    (false,
-                                                                    false,
-                                                                    true,
-                                                                    true,
-                                                                    false,
-                                                                    true,
-                                                                    true,
-                                                                    false)),
-                                                                    (String
-                                                                    ((Ascii
-                                                                    (true,
-                                                                    false,
-                                                                    false,
-                                                                    true,
-                                                                    false,
-                                                                    true,
-                                                                    true,
-                                                                    false)),
-                                                                    (String
-                                                                    ((Ascii
-                                                                    (false,
-                                                                    false,
-                                                                    true,
-                                                                    false,
-                                                                    false,
-                                                                    true,
-                                                                    true,
-                                                                    false)),
-                                                                    (String
-                                                                    ((Ascii
-                                                                    (true,
-                                                                    false,
-                                                                    false,
-                                                                    false,
-                                                                    false,
-                                                                    true,
-                                                                    true,
-                                                                    false)),
-                                                                    (String
-                                                                    ((Ascii
-                                                                    (false,
-                                                                    false,
-                                                                    true,
-                                                                    false,
-                                                                    true,
-                                                                    true,
-                                                                    true,
-                                                                    false)),
-                                                                    (String
-                                                                    ((Ascii
-                                                                    (true,
-                                                                    false,
-                                                                    true,
-                                                                    false,
-                                                                    false,
-                                                                    true,
-                                                                    true,
-                                                                    false)),
-                                                                    (String
-                                                                    ((Ascii
-                                                                    (true,
-                                                                    true,
-                                                                    false,
-                                                                    false,
-                                                                    true,
-                                                                    false,
-                                                                    true,
-                                                                    false)),
-                                                                    (String
-                                                                    ((Ascii
-                                                                    (true,
-                                                                    false,
-                                                                    true,
-                                                                    false,
-                                                                    false,
-                                                                    true,
-                                                                    true,
-                                                                    false)),
-                                                                    (String
-                                                                    ((Ascii
-                                                                    (false,
-                                                                    false,
-                                                                    true,
-                                                                    false,
-                                                                    true,
-                                                                    true,
-                                                                    true,
-                                                                    false)),
-                                                                    (String
-                                                                    ((Ascii
-                                                                    (false,
-                                                                    false,
-                                                                    true,
-                                                                    false,
-                                                                    true,
-                                                                    true,
-                                                                    true,
-                                                                    false)),
-                                                                    (String
-                                                                    ((Ascii
-                                                                    (false,
-                                                                    false,
-                                                                    true,
-                                                                    true,
-                                                                    false,
-                                                                    true,
-                                                                    true,
-                                                                    false)),
-                                                                    (String
-                                                                    ((Ascii
-                                                                    (true,
-                                                                    false,
-                                                                    true,
-                                                                    false,
-                                                                    false,
-                                                                    true,
-                                                                    true,
-                                                                    false)),
-                                                                    (String
-                                                                    ((Ascii
-                                                                    (true,
-                                                                    false,
-                                                                    true,
-                                                                    true,
-                                                                    false,
-                                                                    true,
-                                                                    true,
-                                                                    false)),
-                                                                    (String
-                                                                    ((Ascii
-                                                                    (true,
-                                                                    false,
-                                                                    true,
-                                                                    false,
-                                                                    false,
-                                                                    true,
-                                                                    true,
-                                                                    false)),
-                                                                    (String
-                                                                    ((Ascii
-                                                                    (false,
-                                                                    true,
-                                                                    true,
-                                                                    true,
-                                                                    false,
-                                                                    true,
-                                                                    true,
-                                                                    false)),
-                                                                    (String
-                                                                    ((Ascii
-                                                                    (false,
-                                                                    false,
-                                                                    true,
-                                                                    false,
-                                                                    true,
-                                                                    true,
-                                                                    true,
-                                                                    false)),
-                                                                    (String
-                                                                    ((Ascii
-                                                                    (false,
-                                                                    false,
-                                                                    true,
-                                                                    false,
-                                                                    false,
-                                                                    false,
-                                                                    true,
-                                                                    false)),
-                                                                    (String
-                                                                    ((Ascii
-                                                                    (true,
-                                                                    false,
-                                                                    false,
-                                                                    false,
-                                                                    false,
-                                                                    true,
-                                                                    true,
-                                                                    false)),
-                                                                    (String
-                                                                    ((Ascii
-                                                                    (false,
-                                                                    false,
-                                                                    true,
-                                                                    false,
-                                                                    true,
-                                                                    true,
-                                                                    true,
-                                                                    false)),
-                                                                    (String
-                                                                    ((Ascii
-                                                                    (true,
-                                                                    false,
-                                                                    true,
-                                                                    false,
-                                                                    false,
-                                                                    true,
-                                                                    true,
-                                                                    false)),
-                                                                    EmptyString)))))))))))))))))))))))))))))))))))))))))))) :: [])) :: (
-    (mkcut (S (S (S (S (S (S (S (S (S (S (S (S (S (S (S (S (S (S (S (S (S (S
-      (S (S (S (S (S (S (S (S (S (S (S (S (S (S (S (S (S (S (S (S (S (S (S (S
-      (S (S (S (S (S (S (S (S (S (S (S (S (S (S (S (S (S (S (S (S (S (S (S (S
-      (S (S (S (S (S (S (S (S
-      O))))))))))))))))))))))))))))))))))))))))))))))))))))))))))))))))))))))))))))))
-      (S (S (S (S (S (S (S (S (S (S (S (S (S (S (S (S (S (S (S (S (S (S (S (S
-      (S (S (S (S (S (S (S (S (S (S (S (S (S (S (S (S (S (S (S (S (S (S (S (S
-      (S (S (S (S (S (S (S (S (S (S (S (S (S (S (S (S (S (S (S (S (S (S (S (S
-      (S (S (S (S (S (S (S
-      O)))))))))))))))))))))))))))))))))))))))))))))))))))))))))))))))))))))))))))))))
-      (String ((Ascii (true, true, true, true, false, false, true, false)),
-      (String ((Ascii (false, true, false, false, true, true, true, false)),
-      (String ((Ascii (true, false, false, true, false, true, true, false)),
-      (String ((Ascii (true, true, true, false, false, true, true, false)),
-      (String ((Ascii (true, false, false, true, false, true, true, false)),
-      (String ((Ascii (false, true, true, true, false, true, true, false)),
-      (String ((Ascii (true, false, false, false, false, true, true, false)),
-      (String ((Ascii (false, false, true, false, true, true, true, false)),
-      (String ((Ascii (true, true, true, true, false, true, true, false)),
-      (String ((Ascii (false, true, false, false, true, true, true, false)),
-      (String ((Ascii (true, true, false, false, true, false, true, false)),
-      (String ((Ascii (false, false, true, false, true, true, true, false)),
-      (String ((Ascii (true, false, false, false, false, true, true, false)),
-      (String ((Ascii (false, false, true, false, true, true, true, false)),
-      (String ((Ascii (true, false, true, false, true, true, true, false)),
-      (String ((Ascii (true, true, false, false, true, true, true, false)),
-      (String ((Ascii (true, true, false, false, false, false, true, false)),
-      (String ((Ascii (true, true, true, true, false, true, true, false)),
-      (String ((Ascii (false, false, true, false, false, true, true, false)),
-      (String ((Ascii (true, false, true, false, false, true, true, false)),
-      EmptyString)))))))))))))))))))))))))))))))))))))))) ((String ((Ascii
-      (false, false, false, false, true, true, true, false)), (String ((Ascii
-      (true, false, false, false, false, true, true, false)), (String ((Ascii
-      (false, true, false, false, true, true, true, false)), (String ((Ascii
-      (true, true, false, false, true, true, true, false)), (String ((Ascii
-      (true, false, true, false, false, true, true, false)), (String ((Ascii
-      (false, true, true, true, false, false, true, false)), (String ((Ascii
-      (true, false, true, false, true, true, true, false)), (String ((Ascii
-      (true, false, true, true, false, true, true, false)), (String ((Ascii
-      (false, true, true, false, false, false, true, false)), (String ((Ascii
-      (true, false, false, true, false, true, true, false)), (String ((Ascii
-      (true, false, true, false, false, true, true, false)), (String ((Ascii
-      (false, false, true, true, false, true, true, false)), (String ((Ascii
-      (false, false, true, false, false, true, true, false)),
-      EmptyString)))))))))))))))))))))))))) :: [])) :: ((mkcut (S (S (S (S (S
-                                                          (S (S (S (S (S (S
-                                                          (S (S (S (S (S (S
-                                                          (S (S (S (S (S (S
-                                                          (S (S (S (S (S (S
-                                                          (S (S (S (S (S (S
-                                                          (S (S (S (S (S (S
-                                                          (S (S (S (S (S (S
-                                                          (S (S (S (S (S (S
-                                                          (S (S (S (S (S (S
-                                                          (S (S (S (S (S (S
-                                                          (S (S (S (S (S (S
-                                                          (S (S (S (S (S (S
-                                                          (S (S
-                                                          O)))))))))))))))))))))))))))))))))))))))))))))))))))))))))))))))))))))))))))))))
-                                                          (S (S (S (S (S (S
-                                                          (S (S (S (S (S (S
-                                                          (S (S (S (S (S (S
-                                                          (S (S (S (S (S (S
-                                                          (S (S (S (S (S (S
-                                                          (S (S (S (S (S (S
-                                                          (S (S (S (S (S (S
-                                                          (S (S (S (S (S (S
-                                                          (S (S (S (S (S (S
-                                                          (S (S (S (S (S (S
-                                                          (S (S (S (S (S (S
-                                                          (S (S (S (S (S (S
-                                                          (S (S (S (S (S (S
-                                                          (S (S (S (S (S (S
-                                                          (S (S (S
-                                                          O)))))))))))))))))))))))))))))))))))))))))))))))))))))))))))))))))))))))))))))))))))))))
-                                                          (String ((Ascii
-                                                          (true, true, true,
-                                                          true, false, false,
-                                                          true, false)),
-                                                          (String ((Ascii
-                                                          (false, false,
-                                                          true, false, false,
-                                                          false, true,
-                                                          false)), (String
-                                                          ((Ascii (false,
-                                                          true, true, false,
-                                                          false, false, true,
-                                                          false)), (String
-                                                          ((Ascii (true,
-                                                          false, false, true,
-                                                          false, false, true,
-                                                          false)), (String
-                                                          ((Ascii (true,
-                                                          false, false, true,
-                                                          false, false, true,
-                                                          false)), (String
-                                                          ((Ascii (false,
-                                                          false, true, false,
-                                                          false, true, true,
-                                                          false)), (String
-                                                          ((Ascii (true,
-                                                          false, true, false,
-                                                          false, true, true,
-                                                          false)), (String
-                                                          ((Ascii (false,
-                                                          true, true, true,
-                                                          false, true, true,
-                                                          false)), (String
-                                                          ((Ascii (false,
-                                                          false, true, false,
-                                                          true, true, true,
-                                                          false)), (String
-                                                          ((Ascii (true,
-                                                          false, false, true,
-                                                          false, true, true,
-                                                          false)), (String
-                                                          ((Ascii (false,
-                                                          true, true, false,
-                                                          false, true, true,
-                                                          false)), (String
-                                                          ((Ascii (true,
-                                                          false, false, true,
-                                                          false, true, true,
-                                                          false)), (String
-                                                          ((Ascii (true,
-                                                          true, false, false,
-                                                          false, true, true,
-                                                          false)), (String
-                                                          ((Ascii (true,
-                                                          false, false,
-                                                          false, false, true,
-                                                          true, false)),
-                                                          (String ((Ascii
-                                                          (false, false,
-                                                          true, false, true,
-                                                          true, true,
-                                                          false)), (String
-                                                          ((Ascii (true,
-                                                          false, false, true,
-                                                          false, true, true,
-                                                          false)), (String
-                                                          ((Ascii (true,
-                                                          true, true, true,
-                                                          false, true, true,
-                                                          false)), (String
-                                                          ((Ascii (false,
-                                                          true, true, true,
-                                                          false, true, true,
-                                                          false)),
-                                                          EmptyString))))))))))))))))))))))))))))))))))))
-                                                          ((String ((Ascii
-                                                          (false, false,
-                                                          false, false, true,
-                                                          true, true,
-                                                          false)), (String
-                                                          ((Ascii (true,
-                                                          false, false,
-                                                          false, false, true,
-                                                          true, false)),
-                                                          (String ((Ascii
-                                                          (false, true,
-                                                          false, false, true,
-                                                          true, true,
-                                                          false)), (String
-                                                          ((Ascii (true,
-                                                          true, false, false,
-                                                          true, true, true,
-                                                          false)), (String
-                                                          ((Ascii (true,
-                                                          false, true, false,
-                                                          false, true, true,
-                                                          false)), (String
-                                                          ((Ascii (true,
-                                                          true, false, false,
-                                                          true, false, true,
-                                                          false)), (String
-                                                          ((Ascii (false,
-                                                          false, true, false,
-                                                          true, true, true,
-                                                          false)), (String
-                                                          ((Ascii (false,
-                                                          true, false, false,
-                                                          true, true, true,
-                                                          false)), (String
-                                                          ((Ascii (true,
-                                                          false, false, true,
-                                                          false, true, true,
-                                                          false)), (String
-                                                          ((Ascii (false,
-                                                          true, true, true,
-                                                          false, true, true,
-                                                          false)), (String
-                                                          ((Ascii (true,
-                                                          true, true, false,
-                                                          false, true, true,
-                                                          false)), (String
-                                                          ((Ascii (false,
-                                                          true, true, false,
-                                                          false, false, true,
-                                                          false)), (String
-                                                          ((Ascii (true,
-                                                          false, false, true,
-                                                          false, true, true,
-                                                          false)), (String
-                                                          ((Ascii (true,
-                                                          false, true, false,
-                                                          false, true, true,
-                                                          false)), (String
-                                                          ((Ascii (false,
-                                                          false, true, true,
-                                                          false, true, true,
-                                                          false)), (String
-                                                          ((Ascii (false,
-                                                          false, true, false,
-                                                          false, true, true,
-                                                          false)), (String
-                                                          ((Ascii (true,
-                                                          true, true, false,
-                                                          true, false, true,
-                                                          false)), (String
-                                                          ((Ascii (true,
-                                                          false, false, true,
-                                                          false, true, true,
-                                                          false)), (String
-                                                          ((Ascii (false,
-                                                          false, true, false,
-                                                          true, true, true,
-                                                          false)), (String
-                                                          ((Ascii (false,
-                                                          false, false, true,
-                                                          false, true, true,
-                                                          false)), (String
-                                                          ((Ascii (true,
-                                                          true, true, true,
-                                                          false, false, true,
-                                                          false)), (String
-                                                          ((Ascii (false,
-                                                          false, false,
-                                                          false, true, true,
-                                                          true, false)),
-                                                          (String ((Ascii
-                                                          (false, false,
-                                                          true, false, true,
-                                                          true, true,
-                                                          false)), (String
-                                                          ((Ascii (true,
-                                                          true, false, false,
-                                                          true, true, true,
-                                                          false)),
-                                                          EmptyString)))))))))))))))))))))))))))))))))))))))))))))))) :: [])) :: (
-    (mkcut (S (S (S (S (S (S (S (S (S (S (S (S (S (S (S (S (S (S (S (S (S (S
-      (S (S (S (S (S (S (S (S (S (S (S (S (S (S (S (S (S (S (S (S (S (S (S (S
-      (S (S (S (S (S (S (S (S (S (S (S (S (S (S (S (S (S (S (S (S (S (S (S (S
-      (S (S (S (S (S (S (S (S (S (S (S (S (S (S (S (S (S
-      O)))))))))))))))))))))))))))))))))))))))))))))))))))))))))))))))))))))))))))))))))))))))
-      (S (S (S (S (S (S (S (S (S (S (S (S (S (S (S (S (S (S (S (S (S (S (S (S
-      (S (S (S (S (S (S (S (S (S (S (S (S (S (S (S (S (S (S (S (S (S (S (S (S
-      (S (S (S (S (S (S (S (S (S (S (S (S (S (S (S (S (S (S (S (S (S (S (S (S
-      (S (S (S (S (S (S (S (S (S (S (S (S (S (S (S (S (S (S (S (S (S (S
-      O))))))))))))))))))))))))))))))))))))))))))))))))))))))))))))))))))))))))))))))))))))))))))))))
-      (String ((Ascii (false, true, false, false, false, false, true,
-      false)), (String ((Ascii (true, false, false, false, false, true, true,
-      false)), (String ((Ascii (false, false, true, false, true, true, true,
-      false)), (String ((Ascii (true, true, false, false, false, true, true,
-      false)), (String ((Ascii (false, false, false, true, false, true, true,
-      false)), (String ((Ascii (false, true, true, true, false, false, true,
-      false)), (String ((Ascii (true, false, true, false, true, true, true,
-      false)), (String ((Ascii (true, false, true, true, false, true, true,
-      false)), (String ((Ascii (false, true, false, false, false, true, true,
-      false)), (String ((Ascii (true, false, true, false, false, true, true,
-      false)), (String ((Ascii (false, true, false, false, true, true, true,
-      false)), EmptyString)))))))))))))))))))))) ((String ((Ascii (false,
-      false, false, false, true, true, true, false)), (String ((Ascii (true,
-      false, false, false, false, true, true, false)), (String ((Ascii
-      (false, true, false, false, true, true, true, false)), (String ((Ascii
-      (true, true, false, false, true, true, true, false)), (String ((Ascii
-      (true, false, true, false, false, true, true, false)), (String ((Ascii
-      (false, true, true, true, false, false, true, false)), (String ((Ascii
-      (true, false, true, false, true, true, true, false)), (String ((Ascii
-      (true, false, true, true, false, true, true, false)), (String ((Ascii
-      (false, true, true, false, false, false, true, false)), (String ((Ascii
-      (true, false, false, true, false, true, true, false)), (String ((Ascii
-      (true, false, true, false, false, true, true, false)), (String ((Ascii
-      (false, false, true, true, false, true, true, false)), (String ((Ascii
-      (false, false, true, false, false, true, true, false)),
-      EmptyString)))))))))))))))))))))))))) :: [])) :: []))))))))))))) }
-
-(** val l_EntryDetail : layout **)
-
-let l_EntryDetail =
-  { l_name = (String ((Ascii (true, false, true, false, false, false, true,
-    false)), (String ((Ascii (false, true, true, true, false, true, true,
-    false)), (String ((Ascii (false, false, true, false, true, true, true,
-    false)), (String ((Ascii (false, true, false, false, true, true, true,
-    false)), (String ((Ascii (true, false, false, true, true, true, true,
-    false)), (String ((Ascii (false, false, true, false, false, false, true,
-    false)), (String ((Ascii (true, false, true, false, false, true, true,
-    false)), (String ((Ascii (false, false, true, false, true, true, true,
-    false)), (String ((Ascii (true, false, false, false, false, true, true,
-    false)), (String ((Ascii (true, false, false, true, false, true, true,
-    false)), (String ((Ascii (false, false, true, true, false, true, true,
-    false)), EmptyString)))))))))))))))))))))); l_ix = IRune; l_segs = ((SLit
-    ((Npos (XO (XI (XI (XO (XI XH)))))) :: [])) :: ((SItoa (String ((Ascii
-    (false, false, true, false, true, false, true, false)), (String ((Ascii
-    (false, true, false, false, true, true, true, false)), (String ((Ascii
-    (true, false, false, false, false, true, true, false)), (String ((Ascii
-    (false, true, true, true, false, true, true, false)), (String ((Ascii
-    (true, true, false, false, true, true, true, false)), (String ((Ascii
-    (true, false, false, false, false, true, true, false)), (String ((Ascii
-    (true, true, false, false, false, true, true, false)), (String ((Ascii
-    (false, false, true, false, true, true, true, false)), (String ((Ascii
-    (true, false, false, true, false, true, true, false)), (String ((Ascii
-    (true, true, true, true, false, true, true, false)), (String ((Ascii
-    (false, true, true, true, false, true, true, false)), (String ((Ascii
-    (true, true, false, false, false, false, true, false)), (String ((Ascii
-    (true, true, true, true, false, true, true, false)), (String ((Ascii
-    (false, false, true, false, false, true, true, false)), (String ((Ascii
-    (true, false, true, false, false, true, true, false)),
-    EmptyString))))))))))))))))))))))))))))))) :: ((SStr ((String ((Ascii
-    (false, true, false, false, true, false, true, false)), (String ((Ascii
-    (false, false, true, false, false, false, true, false)), (String ((Ascii
-    (false, true, true, false, false, false, true, false)), (String ((Ascii
-    (true, false, false, true, false, false, true, false)), (String ((Ascii
-    (true, false, false, true, false, false, true, false)), (String ((Ascii
-    (false, false, true, false, false, true, true, false)), (String ((Ascii
-    (true, false, true, false, false, true, true, false)), (String ((Ascii
-    (false, true, true, true, false, true, true, false)), (String ((Ascii
-    (false, false, true, false, true, true, true, false)), (String ((Ascii
-    (true, false, false, true, false, true, true, false)), (String ((Ascii
-    (false, true, true, false, false, true, true, false)), (String ((Ascii
-    (true, false, false, true, false, true, true, false)), (String ((Ascii
-    (true, true, false, false, false, true, true, false)), (String ((Ascii
-    (true, false, false, false, false, true, true, false)), (String ((Ascii
-    (false, false, true, false, true, true, true, false)), (String ((Ascii
-    (true, false, false, true, false, true, true, false)), (String ((Ascii
-    (true, true, true, true, false, true, true, false)), (String ((Ascii
-    (false, true, true, true, false, true, true, false)),
-    EmptyString)))))))))))))))))))))))))))))))))))), (S (S (S (S (S (S (S (S
-    O)))))))))) :: ((SRaw (String ((Ascii (true, true, false, false, false,
-    false, true, false)), (String ((Ascii (false, false, false, true, false,
-    true, true, false)), (String ((Ascii (true, false, true, false, false,
-    true, true, false)), (String ((Ascii (true, true, false, false, false,
-    true, true, false)), (String ((Ascii (true, true, false, true, false,
-    true, true, false)), (String ((Ascii (false, false, true, false, false,
-    false, true, false)), (String ((Ascii (true, false, false, true, false,
-    true, true, false)), (String ((Ascii (true, true, true, false, false,
-    true, true, false)), (String ((Ascii (true, false, false, true, false,
-    true, true, false)), (String ((Ascii (false, false, true, false, true,
-    true, true, false)), EmptyString))))))))))))))))))))) :: ((SAlpha
-    ((String ((Ascii (false, false, true, false, false, false, true, false)),
-    (String ((Ascii (false, true, true, false, false, false, true, false)),
-    (String ((Ascii (true, false, false, true, false, false, true, false)),
-    (String ((Ascii (true, false, false, false, false, false, true, false)),
-    (String ((Ascii (true, true, false, false, false, true, true, false)),
-    (String ((Ascii (true, true, false, false, false, true, true, false)),
-    (String ((Ascii (true, true, true, true, false, true, true, false)),
-    (String ((Ascii (true, false, true, false, true, true, true, false)),
-    (String ((Ascii (false, true, true, true, false, true, true, false)),
-    (String ((Ascii (false, false, true, false, true, true, true, false)),
-    (String ((Ascii (false, true, true, true, false, false, true, false)),
-    (String ((Ascii (true, false, true, false, true, true, true, false)),
-    (String ((Ascii (true, false, true, true, false, true, true, false)),
-    (String ((Ascii (false, true, false, false, false, true, true, false)),
-    (String ((Ascii (true, false, true, false, false, true, true, false)),
-    (String ((Ascii (false, true, false, false, true, true, true, false)),
-    EmptyString)))))))))))))))))))))))))))))))), (S (S (S (S (S (S (S (S (S
-    (S (S (S (S (S (S (S (S O))))))))))))))))))) :: ((SNum ((String ((Ascii
-    (true, false, false, false, false, false, true, false)), (String ((Ascii
-    (true, false, true, true, false, true, true, false)), (String ((Ascii
-    (true, true, true, true, false, true, true, false)), (String ((Ascii
-    (true, false, true, false, true, true, true, false)), (String ((Ascii
-    (false, true, true, true, false, true, true, false)), (String ((Ascii
-    (false, false, true, false, true, true, true, false)),
-    EmptyString)))))))))))), (S (S (S (S (S (S (S (S (S (S
-    O)))))))))))) :: ((SAlpha ((String ((Ascii (true, false, false, true,
-    false, false, true, false)), (String ((Ascii (false, false, true, false,
-    false, true, true, false)), (String ((Ascii (true, false, true, false,
-    false, true, true, false)), (String ((Ascii (false, true, true, true,
-    false, true, true, false)), (String ((Ascii (false, false, true, false,
-    true, true, true, false)), (String ((Ascii (true, false, false, true,
-    false, true, true, false)), (String ((Ascii (false, true, true, false,
-    false, true, true, false)), (String ((Ascii (true, false, false, true,
-    false, true, true, false)), (String ((Ascii (true, true, false, false,
-    false, true, true, false)), (String ((Ascii (true, false, false, false,
-    false, true, true, false)), (String ((Ascii (false, false, true, false,
-    true, true, true, false)), (String ((Ascii (true, false, false, true,
-    false, true, true, false)), (String ((Ascii (true, true, true, true,
-    false, true, true, false)), (String ((Ascii (false, true, true, true,
-    false, true, true, false)), (String ((Ascii (false, true, true, true,
-    false, false, true, false)), (String ((Ascii (true, false, true, false,
-    true, true, true, false)), (String ((Ascii (true, false, true, true,
-    false, true, true, false)), (String ((Ascii (false, true, false, false,
-    false, true, true, false)), (String ((Ascii (true, false, true, false,
-    false, true, true, false)), (String ((Ascii (false, true, false, false,
-    true, true, true, false)),
-    EmptyString)))))))))))))))))))))))))))))))))))))))), (S (S (S (S (S (S (S
-    (S (S (S (S (S (S (S (S O))))))))))))))))) :: ((SAlpha ((String ((Ascii
-    (true, false, false, true, false, false, true, false)), (String ((Ascii
-    (false, true, true, true, false, true, true, false)), (String ((Ascii
-    (false, false, true, false, false, true, true, false)), (String ((Ascii
-    (true, false, false, true, false, true, true, false)), (String ((Ascii
-    (false, true, true, false, true, true, true, false)), (String ((Ascii
-    (true, false, false, true, false, true, true, false)), (String ((Ascii
-    (false, false, true, false, false, true, true, false)), (String ((Ascii
-    (true, false, true, false, true, true, true, false)), (String ((Ascii
-    (true, false, false, false, false, true, true, false)), (String ((Ascii
-    (false, false, true, true, false, true, true, false)), (String ((Ascii
-    (false, true, true, true, false, false, true, false)), (String ((Ascii
-    (true, false, false, false, false, true, true, false)), (String ((Ascii
-    (true, false, true, true, false, true, true, false)), (String ((Ascii
-    (true, false, true, false, false, true, true, false)),
-    EmptyString)))))))))))))))))))))))))))), (S (S (S (S (S (S (S (S (S (S (S
-    (S (S (S (S (S (S (S (S (S (S (S O)))))))))))))))))))))))) :: ((SAlpha
-    ((String ((Ascii (false, false, true, false, false, false, true, false)),
-    (String ((Ascii (true, false, false, true, false, true, true, false)),
-    (String ((Ascii (true, true, false, false, true, true, true, false)),
-    (String ((Ascii (true, true, false, false, false, true, true, false)),
-    (String ((Ascii (false, true, false, false, true, true, true, false)),
-    (String ((Ascii (true, false, true, false, false, true, true, false)),
-    (String ((Ascii (false, false, true, false, true, true, true, false)),
-    (String ((Ascii (true, false, false, true, false, true, true, false)),
-    (String ((Ascii (true, true, true, true, false, true, true, false)),
-    (String ((Ascii (false, true, true, true, false, true, true, false)),
-    (String ((Ascii (true, false, false, false, false, true, true, false)),
-    (String ((Ascii (false, true, false, false, true, true, true, false)),
-    (String ((Ascii (true, false, false, true, true, true, true, false)),
-    (String ((Ascii (false, false, true, false, false, false, true, false)),
-    (String ((Ascii (true, false, false, false, false, true, true, false)),
-    (String ((Ascii (false, false, true, false, true, true, true, false)),
-    (String ((Ascii (true, false, false, false, false, true, true, false)),
-    EmptyString)))))))))))))))))))))))))))))))))), (S (S O)))) :: ((SItoa
-    (String ((Ascii (true, false, false, false, false, false, true, false)),
-    (String ((Ascii (false, false, true, false, false, true, true, false)),
-    (String ((Ascii (false, false, true, false, false, true, true, false)),
-    (String ((Ascii (true, false, true, false, false, true, true, false)),
-    (String ((Ascii (false, true, true, true, false, true, true, false)),
-    (String ((Ascii (false, false, true, false, false, true, true, false)),
-    (String ((Ascii (true, false, false, false, false, true, true, false)),
-    (String ((Ascii (false, true, false, false, true, false, true, false)),
-    (String ((Ascii (true, false, true, false, false, true, true, false)),
-    (String ((Ascii (true, true, false, false, false, true, true, false)),
-    (String ((Ascii (true, true, true, true, false, true, true, false)),
-    (String ((Ascii (false, true, false, false, true, true, true, false)),
-    (String ((Ascii (false, false, true, false, false, true, true, false)),
-    (String ((Ascii (true, false, false, true, false, false, true, false)),
-    (String ((Ascii (false, true, true, true, false, true, true, false)),
-    (String ((Ascii (false, false, true, false, false, true, true, false)),
-    (String ((Ascii (true, false, false, true, false, true, true, false)),
-    (String ((Ascii (true, true, false, false, false, true, true, false)),
-    (String ((Ascii (true, false, false, false, false, true, true, false)),
-    (String ((Ascii (false, false, true, false, true, true, true, false)),
-    (String ((Ascii (true, true, true, true, false, true, true, false)),
-    (String ((Ascii (false, true, false, false, true, true, true, false)),
-    EmptyString))))))))))))))))))))))))))))))))))))))))))))) :: ((SStr
-    ((String ((Ascii (false, false, true, false, true, false, true, false)),
-    (String ((Ascii (false, true, false, false, true, true, true, false)),
-    (String ((Ascii (true, false, false, false, false, true, true, false)),
-    (String ((Ascii (true, true, false, false, false, true, true, false)),
-    (String ((Ascii (true, false, true, false, false, true, true, false)),
-    (String ((Ascii (false, true, true, true, false, false, true, false)),
-    (String ((Ascii (true, false, true, false, true, true, true, false)),
-    (String ((Ascii (true, false, true, true, false, true, true, false)),
-    (String ((Ascii (false, true, false, false, false, true, true, false)),
-    (String ((Ascii (true, false, true, false, false, true, true, false)),
-    (String ((Ascii (false, true, false, false, true, true, true, false)),
-    EmptyString)))))))))))))))))))))), (S (S (S (S (S (S (S (S (S (S (S (S (S
-    (S (S O))))))))))))))))) :: []))))))))))); l_cuts =
-    ((mkcut O (S O) EmptyString []) :: ((mkcut (S O) (S (S (S O))) (String
-                                          ((Ascii (false, false, true, false,
-                                          true, false, true, false)), (String
-                                          ((Ascii (false, true, false, false,
-                                          true, true, true, false)), (String
-                                          ((Ascii (true, false, false, false,
-                                          false, true, true, false)), (String
-                                          ((Ascii (false, true, true, true,
-                                          false, true, true, false)), (String
-                                          ((Ascii (true, true, false, false,
-                                          true, true, true, false)), (String
-                                          ((Ascii (true, false, false, false,
-                                          false, true, true, false)), (String
-                                          ((Ascii (true, true, false, false,
-                                          false, true, true, false)), (String
-                                          ((Ascii (false, false, true, false,
-                                          true, true, true, false)), (String
-                                          ((Ascii (true, false, false, true,
-                                          false, true, true, false)), (String
-                                          ((Ascii (true, true, true, true,
-                                          false, true, true, false)), (String
-                                          ((Ascii (false, true, true, true,
-                                          false, true, true, false)), (String
-                                          ((Ascii (true, true, false, false,
-                                          false, false, true, false)),
-                                          (String ((Ascii (true, true, true,
-                                          true, false, true, true, false)),
-                                          (String ((Ascii (false, false,
-                                          true, false, false, true, true,
-                                          false)), (String ((Ascii (true,
-                                          false, true, false, false, true,
-                                          true, false)),
-                                          EmptyString))))))))))))))))))))))))))))))
-                                          ((String ((Ascii (false, false,
-                                          false, false, true, true, true,
-                                          false)), (String ((Ascii (true,
-                                          false, false, false, false, true,
-                                          true, false)), (String ((Ascii
-                                          (false, true, false, false, true,
-                                          true, true, false)), (String
-                                          ((Ascii (true, true, false, false,
-                                          true, true, true, false)), (String
-                                          ((Ascii (true, false, true, false,
-                                          false, true, true, false)), (String
-                                          ((Ascii (false, true, true, true,
-                                          false, false, true, false)),
-                                          (String ((Ascii (true, false, true,
-                                          false, true, true, true, false)),
-                                          (String ((Ascii (true, false, true,
-                                          true, false, true, true, false)),
-                                          (String ((Ascii (false, true, true,
-                                          false, false, false, true, false)),
-                                          (String ((Ascii (true, false,
-                                          false, true, false, true, true,
-                                          false)), (String ((Ascii (true,
-                                          false, true, false, false, true,
-                                          true, false)), (String ((Ascii
-                                          (false, false, true, true, false,
-                                          true, true, false)), (String
-                                          ((Ascii (false, false, true, false,
-                                          false, true, true, false)),
-                                          EmptyString)))))))))))))))))))))))))) :: [])) :: (
-    (mkcut (S (S (S O))) (S (S (S (S (S (S (S (S (S (S (S O)))))))))))
-      (String ((Ascii (false, true, false, false, true, false, true, false)),
-      (String ((Ascii (false, false, true, false, false, false, true,
-      false)), (String ((Ascii (false, true, true, false, false, false, true,
-      false)), (String ((Ascii (true, false, false, true, false, false, true,
-      false)), (String ((Ascii (true, false, false, true, false, false, true,
-      false)), (String ((Ascii (false, false, true, false, false, true, true,
-      false)), (String ((Ascii (true, false, true, false, false, true, true,
-      false)), (String ((Ascii (false, true, true, true, false, true, true,
-      false)), (String ((Ascii (false, false, true, false, true, true, true,
-      false)), (String ((Ascii (true, false, false, true, false, true, true,
-      false)), (String ((Ascii (false, true, true, false, false, true, true,
-      false)), (String ((Ascii (true, false, false, true, false, true, true,
-      false)), (String ((Ascii (true, true, false, false, false, true, true,
-      false)), (String ((Ascii (true, false, false, false, false, true, true,
-      false)), (String ((Ascii (false, false, true, false, true, true, true,
-      false)), (String ((Ascii (true, false, false, true, false, true, true,
-      false)), (String ((Ascii (true, true, true, true, false, true, true,
-      false)), (String ((Ascii (false, true, true, true, false, true, true,
-      false)), EmptyString)))))))))))))))))))))))))))))))))))) []) :: (
-    (mkcut (S (S (S (S (S (S (S (S (S (S (S O))))))))))) (S (S (S (S (S (S (S
-      (S (S (S (S (S O)))))))))))) (String ((Ascii (true, true, false, false,
-      false, false, true, false)), (String ((Ascii (false, false, false,
-      true, false, true, true, false)), (String ((Ascii (true, false, true,
-      false, false, true, true, false)), (String ((Ascii (true, true, false,
-      false, false, true, true, false)), (String ((Ascii (true, true, false,
-      true, false, true, true, false)), (String ((Ascii (false, false, true,
-      false, false, false, true, false)), (String ((Ascii (true, false,
-      false, true, false, true, true, false)), (String ((Ascii (true, true,
-      true, false, false, true, true, false)), (String ((Ascii (true, false,
-      false, true, false, true, true, false)), (String ((Ascii (false, false,
-      true, false, true, true, true, false)), EmptyString))))))))))))))))))))
-      []) :: ((mkcut (S (S (S (S (S (S (S (S (S (S (S (S O)))))))))))) (S (S
-                (S (S (S (S (S (S (S (S (S (S (S (S (S (S (S (S (S (S (S (S
-                (S (S (S (S (S (S (S O))))))))))))))))))))))))))))) (String
-                ((Ascii (false, false, true, false, false, false, true,
-                false)), (String ((Ascii (false, true, true, false, false,
-                false, true, false)), (String ((Ascii (true, false, false,
-                true, false, false, true, false)), (String ((Ascii (true,
-                false, false, false, false, false, true, false)), (String
-                ((Ascii (true, true, false, false, false, true, true,
-                false)), (String ((Ascii (true, true, false, false, false,
-                true, true, false)), (String ((Ascii (true, true, true, true,
-                false, true, true, false)), (String ((Ascii (true, false,
-                true, false, true, true, true, false)), (String ((Ascii
-                (false, true, true, true, false, true, true, false)), (String
-                ((Ascii (false, false, true, false, true, true, true,
-                false)), (String ((Ascii (false, true, true, true, false,
-                false, true, false)), (String ((Ascii (true, false, true,
-                false, true, true, true, false)), (String ((Ascii (true,
-                false, true, true, false, true, true, false)), (String
-                ((Ascii (false, true, false, false, false, true, true,
-                false)), (String ((Ascii (true, false, true, false, false,
-                true, true, false)), (String ((Ascii (false, true, false,
-                false, true, true, true, false)),
-                EmptyString)))))))))))))))))))))))))))))))) ((String ((Ascii
-                (false, false, false, false, true, true, true, false)),
-                (String ((Ascii (true, false, false, false, false, true,
-                true, false)), (String ((Ascii (false, true, false, false,
-                true, true, true, false)), (String ((Ascii (true, true,
-                false, false, true, true, true, false)), (String ((Ascii
-                (true, false, true, false, false, true, true, false)),
-                (String ((Ascii (true, true, false, false, true, false, true,
-                false)), (String ((Ascii (false, false, true, false, true,
-                true, true, false)), (String ((Ascii (false, true, false,
-                false, true, true, true, false)), (String ((Ascii (true,
-                false, false, true, false, true, true, false)), (String
-                ((Ascii (false, true, true, true, false, true, true, false)),
-                (String ((Ascii (true, true, true, false, false, true, true,
-                false)), (String ((Ascii (false, true, true, false, false,
-                false, true, false)), (String ((Ascii (true, false, false,
-                true, false, true, true, false)), (String ((Ascii (true,
-                false, true, false, false, true, true, false)), (String
-                ((Ascii (false, false, true, true, false, true, true,
-                false)), (String ((Ascii (false, false, true, false, false,
-                true, true, false)), (String ((Ascii (true, true, true,
-                false, true, false, true, false)), (String ((Ascii (true,
-                false, false, true, false, true, true, false)), (String
-                ((Ascii (false, false, true, false, true, true, true,
-                false)), (String ((Ascii (false, false, false, true, false,
-                true, true, false)), (String ((Ascii (true, true, true, true,
-                false, false, true, false)), (String ((Ascii (false, false,
-                false, false, true, true, true, false)), (String ((Ascii
-                (false, false, true, false, true, true, true, false)),
-                (String ((Ascii (true, true, false, false, true, true, true,
-                false)),
-                EmptyString)))))))))))))))))))))))))))))))))))))))))))))))) :: [])) :: (
-    (mkcut (S (S (S (S (S (S (S (S (S (S (S (S (S (S (S (S (S (S (S (S (S (S
-      (S (S (S (S (S (S (S O))))))))))))))))))))))))))))) (S (S (S (S (S (S
-      (S (S (S (S (S (S (S (S (S (S (S (S (S (S (S (S (S (S (S (S (S (S (S (S
-      (S (S (S (S (S (S (S (S (S O)))))))))))))))))))))))))))))))))))))))
-      (String ((Ascii (true, false, false, false, false, false, true,
-      false)), (String ((Ascii (true, false, true, true, false, true, true,
-      false)), (String ((Ascii (true, true, true, true, false, true, true,
-      false)), (String ((Ascii (true, false, true, false, true, true, true,
-      false)), (String ((Ascii (false, true, true, true, false, true, true,
-      false)), (String ((Ascii (false, false, true, false, true, true, true,
-      false)), EmptyString)))))))))))) ((String ((Ascii (false, false, false,
-      false, true, true, true, false)), (String ((Ascii (true, false, false,
-      false, false, true, true, false)), (String ((Ascii (false, true, false,
-      false, true, true, true, false)), (String ((Ascii (true, true, false,
-      false, true, true, true, false)), (String ((Ascii (true, false, true,
-      false, false, true, true, false)), (String ((Ascii (false, true, true,
-      true, false, false, true, false)), (String ((Ascii (true, false, true,
-      false, true, true, true, false)), (String ((Ascii (true, false, true,
-      true, false, true, true, false)), (String ((Ascii (false, true, true,
-      false, false, false, true, false)), (String ((Ascii (true, false,
-      false, true, false, true, true, false)), (String ((Ascii (true, false,
-      true, false, false, true, true, false)), (String ((Ascii (false, false,
-      true, true, false, true, true, false)), (String ((Ascii (false, false,
-      true, false, false, true, true, false)),
-      EmptyString)))))))))))))))))))))))))) :: [])) :: ((mkcut (S (S (S (S (S
-                                                          (S (S (S (S (S (S
-                                                          (S (S (S (S (S (S
-                                                          (S (S (S (S (S (S
-                                                          (S (S (S (S (S (S
-                                                          (S (S (S (S (S (S
-                                                          (S (S (S (S
-                                                          O)))))))))))))))))))))))))))))))))))))))
-                                                          (S (S (S (S (S (S
-                                                          (S (S (S (S (S (S
-                                                          (S (S (S (S (S (S
-                                                          (S (S (S (S (S (S
-                                                          (S (S (S (S (S (S
-                                                          (S (S (S (S (S (S
-                                                          (S (S (S (S (S (S
-                                                          (S (S (S (S (S (S
-                                                          (S (S (S (S (S (S
-                                                          O))))))))))))))))))))))))))))))))))))))))))))))))))))))
-                                                          (String ((Ascii
-                                                          (true, false,
-                                                          false, true, false,
-                                                          false, true,
-                                                          false)), (String
-                                                          ((Ascii (false,
-                                                          false, true, false,
-                                                          false, true, true,
-                                                          false)), (String
-                                                          ((Ascii (true,
-                                                          false, true, false,
-                                                          false, true, true,
-                                                          false)), (String
-                                                          ((Ascii (false,
-                                                          true, true, true,
-                                                          false, true, true,
-                                                          false)), (String
-                                                          ((Ascii (false,
-                                                          false, true, false,
-                                                          true, true, true,
-                                                          false)), (String
-                                                          ((Ascii (true,
-                                                          false, false, true,
-                                                          false, true, true,
-                                                          false)), (String
-                                                          ((Ascii (false,
-                                                          true, true, false,
-                                                          false, true, true,
-                                                          false)), (String
-                                                          ((Ascii (true,
-                                                          false, false, true,
-                                                          false, true, true,
-                                                          false)), (String
-                                                          ((Ascii (true,
-                                                          true, false, false,
-                                                          false, true, true,
-                                                          false)), (String
-                                                          ((Ascii (true,
-                                                          false, false,
-                                                          false, false, true,
-                                                          true, false)),
-                                                          (String ((Ascii
-                                                          (false, false,
-                                                          true, false, true,
-                                                          true, true,
-                                                          false)), (String
-                                                          ((Ascii (true,
-                                                          false, false, true,
-                                                          false, true, true,
-                                                          false)), (String
-                                                          ((Ascii (true,
-                                                          true, true, true,
-                                                          false, true, true,
-                                                          false)), (String
-                                                          ((Ascii (false,
-                                                          true, true, true,
-                                                          false, true, true,
-                                                          false)), (String
-                                                          ((Ascii (false,
-                                                          true, true, true,
-                                                          false, false, true,
-                                                          false)), (String
-                                                          ((Ascii (true,
-                                                          false, true, false,
-                                                          true, true, true,
-                                                          false)), (String
-                                                          ((Ascii (true,
-                                                          false, true, true,
-                                                          false, true, true,
-                                                          false)), (String
-                                                          ((Ascii (false,
-                                                          true, false, false,
-                                                          false, true, true,
-                                                          false)), (String
-                                                          ((Ascii (true,
-                                                          false, true, false,
-                                                          false, true, true,
-                                                          false)), (String
-                                                          ((Ascii (false,
-                                                          true, false, false,
-                                                          true, true, true,
-                                                          false)),
-                                                          EmptyString))))))))))))))))))))))))))))))))))))))))
-                                                          []) :: ((mkcut (S
-                                                                    (S (S (S
-                                                                    (S (S (S
-                                                                    (S (S (S
-                                                                    (S (S (S
-                                                                    (S (S (S
-                                                                    (S (S (S
-                                                                    (S (S (S
-                                                                    (S (S (S
-                                                                    (S (S (S
-                                                                    (S (S (S
-                                                                    (S (S (S
-                                                                    (S (S (S
-                                                                    (S (S (S
-                                                                    (S (S (S
-                                                                    (S (S (S
-                                                                    (S (S (S
-                                                                    (S (S (S
-                                                                    (S (S
-                                                                    O))))))))))))))))))))))))))))))))))))))))))))))))))))))
-                                                                    (S (S (S
-                                                                    (S (S (S
-                                                                    (S (S (S
-                                                                    (S (S (S
-                                                                    (S (S (S
-                                                                    (S (S (S
-                                                                    (S (S (S
-                                                                    (S (S (S
-                                                                    (S (S (S
-                                                                    (S (S (S
-                                                                    (S (S (S
-                                                                    (S (S (S
-                                                                    (S (S (S
-                                                                    (S (S (S
-                                                                    (S (S (S
-                                                                    (S (S (S
-                                                                    (S (S (S
-                                                                    (S (S (S
-                                                                    (S (S (S
-                                                                    (S (S (S
-                                                                    (S (S (S
-                                                                    (S (S (S
-                                                                    (S (S (S
-                                                                    (S (S (S
-                                                                    (S (S (S
-                                                                    (S
-                                                                    O))))))))))))))))))))))))))))))))))))))))))))))))))))))))))))))))))))))))))))
-                                                                    (String
-                                                                    ((Ascii
-                                                                    (true,
-                                                                    false,
-                                                                    false,
-                                                                    true,
-                                                                    false,
-                                                                    false,
-                                                                    true,
-                                                                    false)),
-                                                                    (String
-                                                                    ((Ascii
-                                                                    (false,
-                                                                    true,
-                                                                    true,
-                                                                    true,
-                                                                    false,
-                                                                    true,
-                                                                    true,
-                                                                    false)),
-                                                                    (String
-                                                                    ((Ascii
-                                                                    (false,
-                                                                    false,
-                                                                    true,
-                                                                    false,
-                                                                    false,
-                                                                    true,
-                                                                    true,
-                                                                    false)),
-                                                                    (String
-                                                                    ((Ascii
-                                                                    (true,
-                                                                    false,
-                                                                    false,
-                                                                    true,
-                                                                    false,
-                                                                    true,
-                                                                    true,
-                                                                    false)),
-                                                                    (String
-                                                                    ((Ascii
-                                                                    (false,
-                                                                    true,
-                                                                    true,
-                                                                    false,
-                                                                    true,
-                                                                    true,
-                                                                    true,
-                                                                    false)),
-                                                                    (String
-                                                                    ((Ascii
-                                                                    (true,
-                                                                    false,
-                                                                    false,
-                                                                    true,
-                                                                    false,
-                                                                    true,
-                                                                    true,
-                                                                    false)),
-                                                                    (String
-                                                                    ((Ascii
-                                                                    (false,
-                                                                    false,
-                                                                    true,
-                                                                    false,
-                                                                    false,
-                                                                    true,
-                                                                    true,
-                                                                    false)),
-                                                                    (String
-                                                                    ((Ascii
-                                                                    (true,
-                                                                    false,
-                                                                    true,
-                                                                    false,
-                                                                    true,
-                                                                    true,
-                                                                    true,
-                                                                    false)),
-                                                                    (String
-                                                                    ((Ascii
-                                                                    (true,
-                                                                    false,
-                                                                    false,
-                                                                    false,
-                                                                    false,
-                                                                    true,
-                                                                    true,
-                                                                    false)),
-                                                                    (String
-                                                                    ((Ascii
-                                                                    (false,
-                                                                    false,
-                                                                    true,
-                                                                    true,
-                                                                    false,
-                                                                    true,
-                                                                    true,
-                                                                    false)),
-                                                                    (String
-                                                                    ((Ascii
-                                                                    (false,
-                                                                    true,
-                                                                    true,
-                                                                    true,
-                                                                    false,
-                                                                    false,
-                                                                    true,
-                                                                    false)),
-                                                                    (String
-                                                                    ((Ascii
-                                                                    (true,
-                                                                    false,
-                                                                    false,
-                                                                    false,
-                                                                    false,
-                                                                    true,
-                                                                    true,
-                                                                    false)),
-                                                                    (String
-                                                                    ((Ascii
-                                                                    (true,
-                                                                    false,
-                                                                    true,
-                                                                    true,
-                                                                    false,
-                                                                    true,
-                                                                    true,
-                                                                    false)),
-                                                                    (String
-                                                                    ((Ascii
-                                                                    (true,
-                                                                    false,
-                                                                    true,
-                                                                    false,
-                                                                    false,
-                                                                    true,
-                                                                    true,
-                                                                    false)),
-                                                                    EmptyString))))))))))))))))))))))))))))
-                                                                    []) :: (
-    (mkcut (S (S (S (S (S (S (S (S (S (S (S (S (S (S (S (S (S (S (S (S (S (S
-      (S (S (S (S (S (S (S (S (S (S (S (S (S (S (S (S (S (S (S (S (S (S (S (S
-      (S (S (S (S (S (S (S (S (S (S (S (S (S (S (S (S (S (S (S (S (S (S (S (S
-      (S (S (S (S (S (S
-      O))))))))))))))))))))))))))))))))))))))))))))))))))))))))))))))))))))))))))))
-      (S (S (S (S (S (S (S (S (S (S (S (S (S (S (S (S (S (S (S (S (S (S (S (S
-      (S (S (S (S (S (S (S (S (S (S (S (S (S (S (S (S (S (S (S (S (S (S (S (S
-      (S (S (S (S (S (S (S (S (S (S (S (S (S (S (S (S (S (S (S (S (S (S (S (S
-      (S (S (S (S (S (S
-      O))))))))))))))))))))))))))))))))))))))))))))))))))))))))))))))))))))))))))))))
-      (String ((Ascii (false, false, true, false, false, false, true,
-      false)), (String ((Ascii (true, false, false, true, false, true, true,
-      false)), (String ((Ascii (true, true, false, false, true, true, true,
-      false)), (String ((Ascii (true, true, false, false, false, true, true,
-      false)), (String ((Ascii (false, true, false, false, true, true, true,
-      false)), (String ((Ascii (true, false, true, false, false, true, true,
-      false)), (String ((Ascii (false, false, true, false, true, true, true,
-      false)), (String ((Ascii (true, false, false, true, false, true, true,
-      false)), (String ((Ascii (true, true, true, true, false, true, true,
-      false)), (String ((Ascii (false, true, true, true, false, true, true,
-      false)), (String ((Ascii (true, false, false, false, false, true, true,
-      false)), (String ((Ascii (false, true, false, false, true, true, true,
-      false)), (String ((Ascii (true, false, false, true, true, true, true,
-      false)), (String ((Ascii (false, false, true, false, false, false,
-      true, false)), (String ((Ascii (true, false, false, false, false, true,
-      true, false)), (String ((Ascii (false, false, true, false, true, true,
-      true, false)), (String ((Ascii (true, false, false, false, false, true,
-      true, false)), EmptyString)))))))))))))))))))))))))))))))))) []) :: (
-    (mkcut (S (S (S (S (S (S (S (S (S (S (S (S (S (S (S (S (S (S (S (S (S (S
-      (S (S (S (S (S (S (S (S (S (S (S (S (S (S (S (S (S (S (S (S (S (S (S (S
-      (S (S (S (S (S (S (S (S (S (S (S (S (S (S (S (S (S (S (S (S (S (S (S (S
-      (S (S (S (S (S (S (S (S
-      O))))))))))))))))))))))))))))))))))))))))))))))))))))))))))))))))))))))))))))))
-      (S (S (S (S (S (S (S (S (S (S (S (S (S (S (S (S (S (S (S (S (S (S (S (S
-      (S (S (S (S (S (S (S (S (S (S (S (S (S (S (S (S (S (S (S (S (S (S (S (S
-      (S (S (S (S (S (S (S (S (S (S (S (S (S (S (S (S (S (S (S (S (S (S (S (S
-      (S (S (S (S (S (S (S
-      O)))))))))))))))))))))))))))))))))))))))))))))))))))))))))))))))))))))))))))))))
-      (String ((Ascii (true, false, false, false, false, false, true,
-      false)), (String ((Ascii (false, false, true, false, false, true, true,
-      false)), (String ((Ascii (false, false, true, false, false, true, true,
-      false)), (String ((Ascii (true, false, true, false, false, true, true,
-      false)), (String ((Ascii (false, true, true, true, false, true, true,
-      false)), (String ((Ascii (false, false, true, false, false, true, true,
-      false)), (String ((Ascii (true, false, false, false, false, true, true,
-      false)), (String ((Ascii (false, true, false, false, true, false, true,
-      false)), (String ((Ascii (true, false, true, false, false, true, true,
-      false)), (String ((Ascii (true, true, false, false, false, true, true,
-      false)), (String ((Ascii (true, true, true, true, false, true, true,
-      false)), (String ((Ascii (false, true, false, false, true, true, true,
-      false)), (String ((Ascii (false, false, true, false, false, true, true,
-      false)), (String ((Ascii (true, false, false, true, false, false, true,
-      false)), (String ((Ascii (false, true, true, true, false, true, true,
-      false)), (String ((Ascii (false, false, true, false, false, true, true,
-      false)), (String ((Ascii (true, false, false, true, false, true, true,
-      false)), (String ((Ascii (true, true, false, false, false, true, true,
-      false)), (String ((Ascii (true, false, false, false, false, true, true,
-      false)), (String ((Ascii (false, false, true, false, true, true, true,
-      false)), (String ((Ascii (true, true, true, true, false, true, true,
-      false)), (String ((Ascii (false, true, false, false, true, true, true,
-      false)), EmptyString))))))))))))))))))))))))))))))))))))))))))))
-      ((String ((Ascii (false, false, false, false, true, true, true,
-      false)), (String ((Ascii (true, false, false, false, false, true, true,
-      false)), (String ((Ascii (false, true, false, false, true, true, true,
-      false)), (String ((Ascii (true, true, false, false, true, true, true,
-      false)), (String ((Ascii (true, false, true, false, false, true, true,
-      false)), (String ((Ascii (false, true, true, true, false, false, true,
-      false)), (String ((Ascii (true, false, true, false, true, true, true,
-      false)), (String ((Ascii (true, false, true, true, false, true, true,
-      false)), (String ((Ascii (false, true, true, false, false, false, true,
-      false)), (String ((Ascii (true, false, false, true, false, true, true,
-      false)), (String ((Ascii (true, false, true, false, false, true, true,
-      false)), (String ((Ascii (false, false, true, true, false, true, true,
-      false)), (String ((Ascii (false, false, true, false, false, true, true,
-      false)), EmptyString)))))))))))))))))))))))))) :: [])) :: ((mkcut (S (S
-                                                                   (S (S (S
-                                                                   (S (S (S
-                                                                   (S (S (S
-                                                                   (S (S (S
-                                                                   (S (S (S
-                                                                   (S (S (S
-                                                                   (S (S (S
-                                                                   (S (S (S
-                                                                   (S (S (S
-                                                                   (S (S (S
-                                                                   (S (S (S
-                                                                   (S (S (S
-                                                                   (S (S (S
-                                                                   (S (S (S
-                                                                   (S (S (S
-                                                                   (S (S (S
-                                                                   (S (S (S
-                                                                   (S (S (S
-                                                                   (S (S (S
-                                                                   (S (S (S
-                                                                   (S (S (S
-                                                                   (S (S (S
-                                                                   (S (S (S
-                                                                   (S (S (S
-                                                                   (S (S (S
-                                                                   (S (S
-                                                                   O)))))))))))))))))))))))))))))))))))))))))))))))))))))))))))))))))))))))))))))))
-                                                                   (S (S (S
-                                                                   (S (S (S
-                                                                   (S (S (S
-                                                                   (S (S (S
-                                                                   (S (S (S
-                                                                   (S (S (S
-                                                                   (S (S (S
-                                                                   (S (S (S
-                                                                   (S (S (S
-                                                                   (S (S (S
-                                                                   (S (S (S
-                                                                   (S (S (S
-                                                                   (S (S (S
-                                                                   (S (S (S
-                                                                   (S (S (S
-                                                                   (S (S (S
-                                                                   (S (S (S
-                                                                   (S (S (S
-                                                                   (S (S (S
-                                                                   (S (S (S
-                                                                   (S (S (S
-                                                                   (S (S (S
-                                                                   (S (S (S
-                                                                   (S (S (S
-                                                                   (S (S (S
-                                                                   (S (S (S
-                                                                   (S (S (S
-                                                                   (S (S (S
-                                                                   (S (S (S
-                                                                   (S (S (S
-                                                                   (S (S (S
-                                                                   (S
-                                                                   O))))))))))))))))))))))))))))))))))))))))))))))))))))))))))))))))))))))))))))))))))))))))))))))
-                                                                   (String
-                                                                   ((Ascii
-                                                                   (false,
-                                                                   false,
-                                                                   true,
-                                                                   false,
-                                                                   true,
-                                                                   false,
-                                                                   true,
-                                                                   false)),
-                                                                   (String
-                                                                   ((Ascii
-                                                                   (false,
-                                                                   true,
-                                                                   false,
-                                                                   false,
-                                                                   true,
-                                                                   true,
-                                                                   true,
-                                                                   false)),
-                                                                   (String
-                                                                   ((Ascii
-                                                                   (true,
-                                                                   false,
-                                                                   false,
-                                                                   false,
-                                                                   false,
-                                                                   true,
-                                                                   true,
-                                                                   false)),
-                                                                   (String
-                                                                   ((Ascii
-                                                                   (true,
-                                                                   true,
-                                                                   false,
-                                                                   false,
-                                                                   false,
-                                                                   true,
-                                                                   true,
-                                                                   false)),
-                                                                   (String
-                                                                   ((Ascii
-                                                                   (true,
-                                                                   false,
-                                                                   true,
-                                                                   false,
-                                                                   false,
-                                                                   true,
-                                                                   true,
-                                                                   false)),
-                                                                   (String
-                                                                   ((Ascii
-                                                                   (false,
-                                                                   true,
-                                                                   true,
-                                                                   true,
-                                                                   false,
-                                                                   false,
-                                                                   true,
-                                                                   false)),
-                                                                   (String
-                                                                   ((Ascii
-                                                                   (true,
-                                                                   false,
-                                                                   true,
-                                                                   false,
-                                                                   true,
-                                                                   true,
-                                                                   true,
-                                                                   false)),
-                                                                   (String
-                                                                   ((Ascii
-                                                                   (true,
-                                                                   false,
-                                                                   true,
-                                                                   true,
-                                                                   false,
-                                                                   true,
-                                                                   true,
-                                                                   false)),
-                                                                   (String
-                                                                   ((Ascii
-                                                                   (false,
-                                                                   true,
-                                                                   false,
-                                                                   false,
-                                                                   false,
-                                                                   true,
-                                                                   true,
-                                                                   false)),
-                                                                   (String
-                                                                   ((Ascii
-                                                                   (true,
-                                                                   false,
-                                                                   true,
-                                                                   false,
-                                                                   false,
-                                                                   true,
-                                                                   true,
-                                                                   false)),
-                                                                   (String
-                                                                   ((Ascii
-                                                                   (false,
-                                                                   true,
-                                                                   false,
-                                                                   false,
-                                                                   true,
-                                                                   true,
-                                                                   true,
-                                                                   false)),
-                                                                   EmptyString))))))))))))))))))))))
-                                                                   []) :: []))))))))))) }
-
-(** val l_FileControl : layout **)
-
-let l_FileControl =
-  { l_name = (String ((Ascii (false, true, true, false, false, false, true,
-    false)), (String ((Ascii (true, false, false, true, false, true, true,
-    false)), (String ((Ascii (false, false, true, true, false, true, true,
-    false)), (String ((Ascii (true, false, true, false, false, true, true,
-    false)), (String ((Ascii (true, true, false, false, false, false, true,
-    false)), (String ((Ascii (true, true, true, true, false, true, true,
-    false)), (String ((Ascii (false, true, true, true, false, true, true,
-    false)), (String ((Ascii (false, false, true, false, true, true, true,
-    false)), (String ((Ascii (false, true, false, false, true, true, true,
-    false)), (String ((Ascii (true, true, true, true, false, true, true,
-    false)), (String ((Ascii (false, false, true, true, false, true, true,
-    false)), EmptyString)))))))))))))))))))))); l_ix = IRune; l_segs = ((SLit
-    ((Npos (XI (XO (XO (XI (XI XH)))))) :: [])) :: ((SNum ((String ((Ascii
-    (false, true, false, false, false, false, true, false)), (String ((Ascii
-    (true, false, false, false, false, true, true, false)), (String ((Ascii
-    (false, false, true, false, true, true, true, false)), (String ((Ascii
-    (true, true, false, false, false, true, true, false)), (String ((Ascii
-    (false, false, false, true, false, true, true, false)), (String ((Ascii
-    (true, true, false, false, false, false, true, false)), (String ((Ascii
-    (true, true, true, true, false, true, true, false)), (String ((Ascii
-    (true, false, true, false, true, true, true, false)), (String ((Ascii
-    (false, true, true, true, false, true, true, false)), (String ((Ascii
-    (false, false, true, false, true, true, true, false)),
-    EmptyString)))))))))))))))))))), (S (S (S (S (S (S O)))))))) :: ((SNum
-    ((String ((Ascii (false, true, false, false, false, false, true, false)),
-    (String ((Ascii (false, false, true, true, false, true, true, false)),
-    (String ((Ascii (true, true, true, true, false, true, true, false)),
-    (String ((Ascii (true, true, false, false, false, true, true, false)),
-    (String ((Ascii (true, true, false, true, false, true, true, false)),
-    (String ((Ascii (true, true, false, false, false, false, true, false)),
-    (String ((Ascii (true, true, true, true, false, true, true, false)),
-    (String ((Ascii (true, false, true, false, true, true, true, false)),
-    (String ((Ascii (false, true, true, true, false, true, true, false)),
-    (String ((Ascii (false, false, true, false, true, true, true, false)),
-    EmptyString)))))))))))))))))))), (S (S (S (S (S (S O)))))))) :: ((SNum
-    ((String ((Ascii (true, false, true, false, false, false, true, false)),
-    (String ((Ascii (false, true, true, true, false, true, true, false)),
-    (String ((Ascii (false, false, true, false, true, true, true, false)),
-    (String ((Ascii (false, true, false, false, true, true, true, false)),
-    (String ((Ascii (true, false, false, true, true, true, true, false)),
-    (String ((Ascii (true, false, false, false, false, false, true, false)),
-    (String ((Ascii (false, false, true, false, false, true, true, false)),
-    (String ((Ascii (false, false, true, false, false, true, true, false)),
-    (String ((Ascii (true, false, true, false, false, true, true, false)),
-    (String ((Ascii (false, true, true, true, false, true, true, false)),
-    (String ((Ascii (false, false, true, false, false, true, true, false)),
-    (String ((Ascii (true, false, false, false, false, true, true, false)),
-    (String ((Ascii (true, true, false, false, false, false, true, false)),
-    (String ((Ascii (true, true, true, true, false, true, true, false)),
-    (String ((Ascii (true, false, true, false, true, true, true, false)),
-    (String ((Ascii (false, true, true, true, false, true, true, false)),
-    (String ((Ascii (false, false, true, false, true, true, true, false)),
-    EmptyString)))))))))))))))))))))))))))))))))), (S (S (S (S (S (S (S (S
-    O)))))))))) :: ((SNum ((String ((Ascii (true, false, true, false, false,
-    false, true, false)), (String ((Ascii (false, true, true, true, false,
-    true, true, false)), (String ((Ascii (false, false, true, false, true,
-    true, true, false)), (String ((Ascii (false, true, false, false, true,
-    true, true, false)), (String ((Ascii (true, false, false, true, true,
-    true, true, false)), (String ((Ascii (false, false, false, true, false,
-    false, true, false)), (String ((Ascii (true, false, false, false, false,
-    true, true, false)), (String ((Ascii (true, true, false, false, true,
-    true, true, false)), (String ((Ascii (false, false, false, true, false,
-    true, true, false)), EmptyString)))))))))))))))))), (S (S (S (S (S (S (S
-    (S (S (S O)))))))))))) :: ((SNum ((String ((Ascii (false, false, true,
-    false, true, false, true, false)), (String ((Ascii (true, true, true,
-    true, false, true, true, false)), (String ((Ascii (false, false, true,
-    false, true, true, true, false)), (String ((Ascii (true, false, false,
-    false, false, true, true, false)), (String ((Ascii (false, false, true,
-    true, false, true, true, false)), (String ((Ascii (false, false, true,
-    false, false, false, true, false)), (String ((Ascii (true, false, true,
-    false, false, true, true, false)), (String ((Ascii (false, true, false,
-    false, false, true, true, false)), (String ((Ascii (true, false, false,
-    true, false, true, true, false)), (String ((Ascii (false, false, true,
-    false, true, true, true, false)), (String ((Ascii (true, false, true,
-    false, false, false, true, false)), (String ((Ascii (false, true, true,
-    true, false, true, true, false)), (String ((Ascii (false, false, true,
-    false, true, true, true, false)), (String ((Ascii (false, true, false,
-    false, true, true, true, false)), (String ((Ascii (true, false, false,
-    true, true, true, true, false)), (String ((Ascii (false, false, true,
-    false, false, false, true, false)), (String ((Ascii (true, true, true,
-    true, false, true, true, false)), (String ((Ascii (false, false, true,
-    true, false, true, true, false)), (String ((Ascii (false, false, true,
-    true, false, true, true, false)), (String ((Ascii (true, false, false,
-    false, false, true, true, false)), (String ((Ascii (false, true, false,
-    false, true, true, true, false)), (String ((Ascii (true, false, false,
-    false, false, false, true, false)), (String ((Ascii (true, false, true,
-    true, false, true, true, false)), (String ((Ascii (true, true, true,
-    true, false, true, true, false)), (String ((Ascii (true, false, true,
-    false, true, true, true, false)), (String ((Ascii (false, true, true,
-    true, false, true, true, false)), (String ((Ascii (false, false, true,
-    false, true, true, true, false)), (String ((Ascii (true, false, false,
-    true, false, false, true, false)), (String ((Ascii (false, true, true,
-    true, false, true, true, false)), (String ((Ascii (false, true, true,
-    false, false, false, true, false)), (String ((Ascii (true, false, false,
-    true, false, true, true, false)), (String ((Ascii (false, false, true,
-    true, false, true, true, false)), (String ((Ascii (true, false, true,
-    false, false, true, true, false)),
-    EmptyString)))))))))))))))))))))))))))))))))))))))))))))))))))))))))))))))))),
-    (S (S (S (S (S (S (S (S (S (S (S (S O)))))))))))))) :: ((SNum ((String
-    ((Ascii (false, false, true, false, true, false, true, false)), (String
-    ((Ascii (true, true, true, true, false, true, true, false)), (String
-    ((Ascii (false, false, true, false, true, true, true, false)), (String
-    ((Ascii (true, false, false, false, false, true, true, false)), (String
-    ((Ascii (false, false, true, true, false, true, true, false)), (String
-    ((Ascii (true, true, false, false, false, false, true, false)), (String
-    ((Ascii (false, true, false, false, true, true, true, false)), (String
-    ((Ascii (true, false, true, false, false, true, true, false)), (String
-    ((Ascii (false, false, true, false, false, true, true, false)), (String
-    ((Ascii (true, false, false, true, false, true, true, false)), (String
-    ((Ascii (false, false, true, false, true, true, true, false)), (String
-    ((Ascii (true, false, true, false, false, false, true, false)), (String
-    ((Ascii (false, true, true, true, false, true, true, false)), (String
-    ((Ascii (false, false, true, false, true, true, true, false)), (String
-    ((Ascii (false, true, false, false, true, true, true, false)), (String
-    ((Ascii (true, false, false, true, true, true, true, false)), (String
-    ((Ascii (false, false, true, false, false, false, true, false)), (String
-    ((Ascii (true, true, true, true, false, true, true, false)), (String
-    ((Ascii (false, false, true, true, false, true, true, false)), (String
-    ((Ascii (false, false, true, true, false, true, true, false)), (String
-    ((Ascii (true, false, false, false, false, true, true, false)), (String
-    ((Ascii (false, true, false, false, true, true, true, false)), (String
-    ((Ascii (true, false, false, false, false, false, true, false)), (String
-    ((Ascii (true, false, true, true, false, true, true, false)), (String
-    ((Ascii (true, true, true, true, false, true, true, false)), (String
-    ((Ascii (true, false, true, false, true, true, true, false)), (String
-    ((Ascii (false, true, true, true, false, true, true, false)), (String
-    ((Ascii (false, false, true, false, true, true, true, false)), (String
-    ((Ascii (true, false, false, true, false, false, true, false)), (String
-    ((Ascii (false, true, true, true, false, true, true, false)), (String
-    ((Ascii (false, true, true, false, false, false, true, false)), (String
-    ((Ascii (true, false, false, true, false, true, true, false)), (String
-    ((Ascii (false, false, true, true, false, true, true, false)), (String
-    ((Ascii (true, false, true, false, false, true, true, false)),
-    EmptyString)))))))))))))))))))))))))))))))))))))))))))))))))))))))))))))))))))),
-    (S (S (S (S (S (S (S (S (S (S (S (S O)))))))))))))) :: ((SLit ((Npos (XO
-    (XO (XO (XO (XO XH)))))) :: ((Npos (XO (XO (XO (XO (XO XH)))))) :: ((Npos
-    (XO (XO (XO (XO (XO XH)))))) :: ((Npos (XO (XO (XO (XO (XO
-    XH)))))) :: ((Npos (XO (XO (XO (XO (XO XH)))))) :: ((Npos (XO (XO (XO (XO
-    (XO XH)))))) :: ((Npos (XO (XO (XO (XO (XO XH)))))) :: ((Npos (XO (XO (XO
-    (XO (XO XH)))))) :: ((Npos (XO (XO (XO (XO (XO XH)))))) :: ((Npos (XO (XO
-    (XO (XO (XO XH)))))) :: ((Npos (XO (XO (XO (XO (XO XH)))))) :: ((Npos (XO
-    (XO (XO (XO (XO XH)))))) :: ((Npos (XO (XO (XO (XO (XO XH)))))) :: ((Npos
-    (XO (XO (XO (XO (XO XH)))))) :: ((Npos (XO (XO (XO (XO (XO
-    XH)))))) :: ((Npos (XO (XO (XO (XO (XO XH)))))) :: ((Npos (XO (XO (XO (XO
-    (XO XH)))))) :: ((Npos (XO (XO (XO (XO (XO XH)))))) :: ((Npos (XO (XO (XO
-    (XO (XO XH)))))) :: ((Npos (XO (XO (XO (XO (XO XH)))))) :: ((Npos (XO (XO
-    (XO (XO (XO XH)))))) :: ((Npos (XO (XO (XO (XO (XO XH)))))) :: ((Npos (XO
-    (XO (XO (XO (XO XH)))))) :: ((Npos (XO (XO (XO (XO (XO XH)))))) :: ((Npos
-    (XO (XO (XO (XO (XO XH)))))) :: ((Npos (XO (XO (XO (XO (XO
-    XH)))))) :: ((Npos (XO (XO (XO (XO (XO XH)))))) :: ((Npos (XO (XO (XO (XO
-    (XO XH)))))) :: ((Npos (XO (XO (XO (XO (XO XH)))))) :: ((Npos (XO (XO (XO
-    (XO (XO XH)))))) :: ((Npos (XO (XO (XO (XO (XO XH)))))) :: ((Npos (XO (XO
-    (XO (XO (XO XH)))))) :: ((Npos (XO (XO (XO (XO (XO XH)))))) :: ((Npos (XO
-    (XO (XO (XO (XO XH)))))) :: ((Npos (XO (XO (XO (XO (XO XH)))))) :: ((Npos
-    (XO (XO (XO (XO (XO XH)))))) :: ((Npos (XO (XO (XO (XO (XO
-    XH)))))) :: ((Npos (XO (XO (XO (XO (XO XH)))))) :: ((Npos (XO (XO (XO (XO
-    (XO XH)))))) :: [])))))))))))))))))))))))))))))))))))))))) :: []))))))));
-    l_cuts =
-    ((mkcut O (S O) EmptyString []) :: ((mkcut (S O) (S (S (S (S (S (S (S
-                                          O))))))) (String ((Ascii (false,
-                                          true, false, false, false, false,
-                                          true, false)), (String ((Ascii
-                                          (true, false, false, false, false,
-                                          true, true, false)), (String
-                                          ((Ascii (false, false, true, false,
-                                          true, true, true, false)), (String
-                                          ((Ascii (true, true, false, false,
-                                          false, true, true, false)), (String
-                                          ((Ascii (false, false, false, true,
-                                          false, true, true, false)), (String
-                                          ((Ascii (true, true, false, false,
-                                          false, false, true, false)),
-                                          (String ((Ascii (true, true, true,
-                                          true, false, true, true, false)),
-                                          (String ((Ascii (true, false, true,
-                                          false, true, true, true, false)),
-                                          (String ((Ascii (false, true, true,
-                                          true, false, true, true, false)),
-                                          (String ((Ascii (false, false,
-                                          true, false, true, true, true,
-                                          false)),
-                                          EmptyString))))))))))))))))))))
-                                          ((String ((Ascii (false, false,
-                                          false, false, true, true, true,
-                                          false)), (String ((Ascii (true,
-                                          false, false, false, false, true,
-                                          true, false)), (String ((Ascii
-                                          (false, true, false, false, true,
-                                          true, true, false)), (String
-                                          ((Ascii (true, true, false, false,
-                                          true, true, true, false)), (String
-                                          ((Ascii (true, false, true, false,
-                                          false, true, true, false)), (String
-                                          ((Ascii (false, true, true, true,
-                                          false, false, true, false)),
-                                          (String ((Ascii (true, false, true,
-                                          false, true, true, true, false)),
-                                          (String ((Ascii (true, false, true,
-                                          true, false, true, true, false)),
-                                          (String ((Ascii (false, true, true,
-                                          false, false, false, true, false)),
-                                          (String ((Ascii (true, false,
-                                          false, true, false, true, true,
-                                          false)), (String ((Ascii (true,
-                                          false, true, false, false, true,
-                                          true, false)), (String ((Ascii
-                                          (false, false, true, true, false,
-                                          true, true, false)), (String
-                                          ((Ascii (false, false, true, false,
-                                          false, true, true, false)),
-                                          EmptyString)))))))))))))))))))))))))) :: [])) :: (
-    (mkcut (S (S (S (S (S (S (S O))))))) (S (S (S (S (S (S (S (S (S (S (S (S
-      (S O))))))))))))) (String ((Ascii (false, true, false, false, false,
-      false, true, false)), (String ((Ascii (false, false, true, true, false,
-      true, true, false)), (String ((Ascii (true, true, true, true, false,
-      true, true, false)), (String ((Ascii (true, true, false, false, false,
-      true, true, false)), (String ((Ascii (true, true, false, true, false,
-      true, true, false)), (String ((Ascii (true, true, false, false, false,
-      false, true, false)), (String ((Ascii (true, true, true, true, false,
-      true, true, false)), (String ((Ascii (true, false, true, false, true,
-      true, true, false)), (String ((Ascii (false, true, true, true, false,
-      true, true, false)), (String ((Ascii (false, false, true, false, true,
-      true, true, false)), EmptyString)))))))))))))))))))) ((String ((Ascii
-      (false, false, false, false, true, true, true, false)), (String ((Ascii
-      (true, false, false, false, false, true, true, false)), (String ((Ascii
-      (false, true, false, false, true, true, true, false)), (String ((Ascii
-      (true, true, false, false, true, true, true, false)), (String ((Ascii
-      (true, false, true, false, false, true, true, false)), (String ((Ascii
-      (false, true, true, true, false, false, true, false)), (String ((Ascii
-      (true, false, true, false, true, true, true, false)), (String ((Ascii
-      (true, false, true, true, false, true, true, false)), (String ((Ascii
-      (false, true, true, false, false, false, true, false)), (String ((Ascii
-      (true, false, false, true, false, true, true, false)), (String ((Ascii
-      (true, false, true, false, false, true, true, false)), (String ((Ascii
-      (false, false, true, true, false, true, true, false)), (String ((Ascii
-      (false, false, true, false, false, true, true, false)),
-      EmptyString)))))))))))))))))))))))))) :: [])) :: ((mkcut (S (S (S (S (S
-                                                          (S (S (S (S (S (S
-                                                          (S (S
-                                                          O))))))))))))) (S
-                                                          (S (S (S (S (S (S
-                                                          (S (S (S (S (S (S
-                                                          (S (S (S (S (S (S
-                                                          (S (S
-                                                          O)))))))))))))))))))))
-                                                          (String ((Ascii
-                                                          (true, false, true,
-                                                          false, false,
-                                                          false, true,
-                                                          false)), (String
-                                                          ((Ascii (false,
-                                                          true, true, true,
-                                                          false, true, true,
-                                                          false)), (String
-                                                          ((Ascii (false,
-                                                          false, true, false,
-                                                          true, true, true,
-                                                          false)), (String
-                                                          ((Ascii (false,
-                                                          true, false, false,
-                                                          true, true, true,
-                                                          false)), (String
-                                                          ((Ascii (true,
-                                                          false, false, true,
-                                                          true, true, true,
-                                                          false)), (String
-                                                          ((Ascii (true,
-                                                          false, false,
-                                                          false, false,
-                                                          false, true,
-                                                          false)), (String
-                                                          ((Ascii (false,
-                                                          false, true, false,
-                                                          false, true, true,
-                                                          false)), (String
-                                                          ((Ascii (false,
-                                                          false, true, false,
-                                                          false, true, true,
-                                                          false)), (String
-                                                          ((Ascii (true,
-                                                          false, true, false,
-                                                          false, true, true,
-                                                          false)), (String
-                                                          ((Ascii (false,
-                                                          true, true, true,
-                                                          false, true, true,
-                                                          false)), (String
-                                                          ((Ascii (false,
-                                                          false, true, false,
-                                                          false, true, true,
-                                                          false)), (String
-                                                          ((Ascii (true,
-                                                          false, false,
-                                                          false, false, true,
-                                                          true, false)),
-                                                          (String ((Ascii
-                                                          (true, true, false,
-                                                          false, false,
-                                                          false, true,
-                                                          false)), (String
-                                                          ((Ascii (true,
-                                                          true, true, true,
-                                                          false, true, true,
-                                                          false)), (String
-                                                          ((Ascii (true,
-                                                          false, true, false,
-                                                          true, true, true,
-                                                          false)), (String
-                                                          ((Ascii (false,
-                                                          true, true, true,
-                                                          false, true, true,
-                                                          false)), (String
-                                                          ((Ascii (false,
-                                                          false, true, false,
-                                                          true, true, true,
-                                                          false)),
-                                                          EmptyString))))))))))))))))))))))))))))))))))
-                                                          ((String ((Ascii
-                                                          (false, false,
-                                                          false, false, true,
-                                                          true, true,
-                                                          false)), (String
-                                                          ((Ascii (true,
-                                                          false, false,
-                                                          false, false, true,
-                                                          true, false)),
-                                                          (String ((Ascii
-                                                          (false, true,
-                                                          false, false, true,
-                                                          true, true,
-                                                          false)), (String
-                                                          ((Ascii (true,
-                                                          true, false, false,
-                                                          true, true, true,
-                                                          false)), (String
-                                                          ((Ascii (true,
-                                                          false, true, false,
-                                                          false, true, true,
-                                                          false)), (String
-                                                          ((Ascii (false,
-                                                          true, true, true,
-                                                          false, false, true,
-                                                          false)), (String
-                                                          ((Ascii (true,
-                                                          false, true, false,
-                                                          true, true, true,
-                                                          false)), (String
-                                                          ((Ascii (true,
-                                                          false, true, true,
-                                                          false, true, true,
-                                                          false)), (String
-                                                          ((Ascii (false,
-                                                          true, true, false,
-                                                          false, false, true,
-                                                          false)), (String
-                                                          ((Ascii (true,
-                                                          false, false, true,
-                                                          false, true, true,
-                                                          false)), (String
-                                                          ((Ascii (true,
-                                                          false, true, false,
-                                                          false, true, true,
-                                                          false)), (String
-                                                          ((Ascii (false,
-                                                          false, true, true,
-                                                          false, true, true,
-                                                          false)), (String
-                                                          ((Ascii (false,
-                                                          false, true, false,
-                                                          false, true, true,
-                                                          false)),
-                                                          EmptyString)))))))))))))))))))))))))) :: [])) :: (
-    (mkcut (S (S (S (S (S (S (S (S (S (S (S (S (S (S (S (S (S (S (S (S (S
-      O))))))))))))))))))))) (S (S (S (S (S (S (S (S (S (S (S (S (S (S (S (S
-      (S (S (S (S (S (S (S (S (S (S (S (S (S (S (S
-      O))))))))))))))))))))))))))))))) (String ((Ascii (true, false, true,
-      false, false, false, true, false)), (String ((Ascii (false, true, true,
-      true, false, true, true, false)), (String ((Ascii (false, false, true,
-      false, true, true, true, false)), (String ((Ascii (false, true, false,
-      false, true, true, true, false)), (String ((Ascii (true, false, false,
-      true, true, true, true, false)), (String ((Ascii (false, false, false,
-      true, false, false, true, false)), (String ((Ascii (true, false, false,
-      false, false, true, true, false)), (String ((Ascii (true, true, false,
-      false, true, true, true, false)), (String ((Ascii (false, false, false,
-      true, false, true, true, false)), EmptyString))))))))))))))))))
-      ((String ((Ascii (false, false, false, false, true, true, true,
-      false)), (String ((Ascii (true, false, false, false, false, true, true,
-      false)), (String ((Ascii (false, true, false, false, true, true, true,
-      false)), (String ((Ascii (true, true, false, false, true, true, true,
-      false)), (String ((Ascii (true, false, true, false, false, true, true,
-      false)), (String ((Ascii (false, true, true, true, false, false, true,
-      false)), (String ((Ascii (true, false, true, false, true, true, true,
-      false)), (String ((Ascii (true, false, true, true, false, true, true,
-      false)), (String ((Ascii (false, true, true, false, false, false, true,
-      false)), (String ((Ascii (true, false, false, true, false, true, true,
-      false)), (String ((Ascii (true, false, true, false, false, true, true,
-      false)), (String ((Ascii (false, false, true, true, false, true, true,
-      false)), (String ((Ascii (false, false, true, false, false, true, true,
-      false)), EmptyString)))))))))))))))))))))))))) :: [])) :: ((mkcut (S (S
-                                                                   (S (S (S
-                                                                   (S (S (S
-                                                                   (S (S (S
-                                                                   (S (S (S
-                                                                   (S (S (S
-                                                                   (S (S (S
-                                                                   (S (S (S
-                                                                   (S (S (S
-                                                                   (S (S (S
-                                                                   (S (S
-                                                                   O)))))))))))))))))))))))))))))))
-                                                                   (S (S (S
-                                                                   (S (S (S
-                                                                   (S (S (S
-                                                                   (S (S (S
-                                                                   (S (S (S
-                                                                   (S (S (S
-                                                                   (S (S (S
-                                                                   (S (S (S
-                                                                   (S (S (S
-                                                                   (S (S (S
-                                                                   (S (S (S
-                                                                   (S (S (S
-                                                                   (S (S (S
-                                                                   (S (S (S
-                                                                   (S
-                                                                   O)))))))))))))))))))))))))))))))))))))))))))
-                                                                   (String
-                                                                   ((Ascii
-                                                                   (false,
-                                                                   false,
-                                                                   true,
-                                                                   false,
-                                                                   true,
-                                                                   false,
-                                                                   true,
-                                                                   false)),
-                                                                   (String
-                                                                   ((Ascii
-                                                                   (true,
-                                                                   true,
-                                                                   true,
-                                                                   true,
-                                                                   false,
-                                                                   true,
-                                                                   true,
-                                                                   false)),
-                                                                   (String
-                                                                   ((Ascii
-                                                                   (false,
-                                                                   false,
-                                                                   true,
-                                                                   false,
-                                                                   true,
-                                                                   true,
-                                                                   true,
-                                                                   false)),
-                                                                   (String
-                                                                   ((Ascii
-                                                                   (true,
-                                                                   false,
-                                                                   false,
-                                                                   false,
-                                                                   false,
-                                                                   true,
-                                                                   true,
-                                                                   false)),
-                                                                   (String
-                                                                   ((Ascii
-                                                                   (false,
-                                                                   false,
-                                                                   true,
-                                                                   true,
-                                                                   false,
-                                                                   true,
-                                                                   true,
-                                                                   false)),
-                                                                   (String
-                                                                   ((Ascii
-                                                                   (false,
-                                                                   false,
-                                                                   true,
-                                                                   false,
-                                                                   false,
-                                                                   false,
-                                                                   true,
-                                                                   false)),
-                                                                   (String
-                                                                   ((Ascii
-                                                                   (true,
-                                                                   false,
-                                                                   true,
-                                                                   false,
-                                                                   false,
-                                                                   true,
-                                                                   true,
-                                                                   false)),
-                                                                   (String
-                                                                   ((Ascii
-                                                                   (false,
-                                                                   true,
-                                                                   false,
-                                                                   false,
-                                                                   false,
-                                                                   true,
-                                                                   true,
-                                                                   false)),
-                                                                   (String
-                                                                   ((Ascii
-                                                                   (true,
-                                                                   false,
-                                                                   false,
-                                                                   true,
-                                                                   false,
-                                                                   true,
-                                                                   true,
-                                                                   false)),
-                                                                   (String
-                                                                   ((Ascii
-                                                                   (false,
-                                                                   false,
-                                                                   true,
-                                                                   false,
-                                                                   true,
-                                                                   true,
-                                                                   true,
-                                                                   false)),
-                                                                   (String
-                                                                   ((Ascii
-                                                                   (true,
-                                                                   false,
-                                                                   true,
-                                                                   false,
-                                                                   false,
-                                                                   false,
-                                                                   true,
-                                                                   false)),
-                                                                   (String
-                                                                   ((Ascii
-                                                                   (false,
-                                                                   true,
-                                                                   true,
-                                                                   true,
-                                                                   false,
-                                                                   true,
-                                                                   true,
-                                                                   false)),
-                                                                   (String
-                                                                   ((Ascii
-                                                                   (false,
-                                                                   false,
-                                                                   true,
-                                                                   false,
-                                                                   true,
-                                                                   true,
-                                                                   true,
-                                                                   false)),
-                                                                   (String
-                                                                   ((Ascii
-                                                                   (false,
-                                                                   true,
-                                                                   false,
-                                                                   false,
-                                                                   true,
-                                                                   true,
-                                                                   true,
-                                                                   false)),
-                                                                   (String
-                                                                   ((Ascii
-                                                                   (true,
-                                                                   false,
-                                                                   false,
-                                                                   true,
-                                                                   true,
-                                                                   true,
-                                                                   true,
-                                                                   false)),
-                                                                   (String
-                                                                   ((Ascii
-                                                                   (false,
-                                                                   false,
-                                                                   true,
-                                                                   false,
-                                                                   false,
-                                                                   false,
-                                                                   true,
-                                                                   false)),
-                                                                   (String
-                                                                   ((Ascii
-                                                                   (true,
-                                                                   true,
-                                                                   true,
-                                                                   true,
-                                                                   false,
-                                                                   true,
-                                                                   true,
-                                                                   false)),
-                                                                   (String
-                                                                   ((Ascii
-                                                                   (false,
-                                                                   false,
-                                                                   true,
-                                                                   true,
-                                                                   false,
-                                                                   true,
-                                                                   true,
-                                                                   false)),
-                                                                   (String
-                                                                   ((Ascii
-                                                                   (false,
-                                                                   false,
-                                                                   true,
-                                                                   true,
-                                                                   false,
-                                                                   true,
-                                                                   true,
-                                                                   false)),
-                                                                   (String
-                                                                   ((Ascii
-                                                                   (true,
-                                                                   false,
-                                                                   false,
-                                                                   false,
-                                                                   false,
-                                                                   true,
-                                                                   true,
-                                                                   false)),
-                                                                   (String
-                                                                   ((Ascii
-                                                                   (false,
-                                                                   true,
-                                                                   false,
-                                                                   false,
-                                                                   true,
-                                                                   true,
-                                                                   true,
-                                                                   false)),
-                                                                   (String
-                                                                   ((Ascii
-                                                                   (true,
-                                                                   false,
-                                                                   false,
-                                                                   false,
-                                                                   false,
-                                                                   false,
-                                                                   true,
-                                                                   false)),
-                                                                   (String
-                                                                   ((Ascii
-                                                                   (true,
-                                                                   false,
-                                                                   true,
-                                                                   true,
-                                                                   false,
-                                                                   true,
-                                                                   true,
-                                                                   false)),
-                                                                   (String
-                                                                   ((Ascii
-                                                                   (true,
-                                                                   true,
-                                                                   true,
-                                                                   true,
-                                                                   false,
-                                                                   true,
-                                                                   true,
-                                                                   false)),
-                                                                   (String
-                                                                   ((Ascii
-                                                                   (true,
-                                                                   false,
-                                                                   true,
-                                                                   false,
-                                                                   true,
-                                                                   true,
-                                                                   true,
-                                                                   false)),
-                                                                   (String
-                                                                   ((Ascii
-                                                                   (false,
-                                                                   true,
-                                                                   true,
-                                                                   true,
-                                                                   false,
-                                                                   true,
-                                                                   true,
-                                                                   false)),
-                                                                   (String
-                                                                   ((Ascii
-                                                                   (false,
-                                                                   false,
-                                                                   true,
-                                                                   false,
-                                                                   true,
-                                                                   true,
-                                                                   true,
-                                                                   false)),
-                                                                   (String
-                                                                   ((Ascii
-                                                                   (true,
-                                                                   false,
-                                                                   false,
-                                                                   true,
-                                                                   false,
-                                                                   false,
-                                                                   true,
-                                                                   false)),
-                                                                   (String
-                                                                   ((Ascii
-                                                                   (false,
-                                                                   true,
-                                                                   true,
-                                                                   true,
-                                                                   false,
-                                                                   true,
-                                                                   true,
-                                                                   false)),
-                                                                   (String
-                                                                   ((Ascii
-                                                                   (false,
-                                                                   true,
-                                                                   true,
-                                                                   false,
-                                                                   false,
-                                                                   false,
-                                                                   true,
-                                                                   false)),
-                                                                   (String
-                                                                   ((Ascii
-                                                                   (true,
-                                                                   false,
-                                                                   false,
-                                                                   true,
-                                                                   false,
-                                                                   true,
-                                                                   true,
-                                                                   false)),
-                                                                   (String
-                                                                   ((Ascii
-                                                                   (false,
-                                                                   false,
-                                                                   true,
-                                                                   true,
-                                                                   false,
-                                                                   true,
-                                                                   true,
-                                                                   false)),
-                                                                   (String
-                                                                   ((Ascii
-                                                                   (true,
-                                                                   false,
-                                                                   true,
-                                                                   false,
-                                                                   false,
-                                                                   true,
-                                                                   true,
-                                                                   false)),
-                                                                   EmptyString))))))))))))))))))))))))))))))))))))))))))))))))))))))))))))))))))
-                                                                   ((String
-                                                                   ((Ascii
-                                                                   (false,
-                                                                   false,
-                                                                   false,
-                                                                   false,
-                                                                   true,
-                                                                   true,
-                                                                   true,
-                                                                   false)),
-                                                                   (String
-                                                                   ((Ascii
-                                                                   (true,
-                                                                   false,
-                                                                   false,
-                                                                   false,
-                                                                   false,
-                                                                   true,
-                                                                   true,
-                                                                   false)),
-                                                                   (String
-                                                                   ((Ascii
-                                                                   (false,
-                                                                   true,
-                                                                   false,
-                                                                   false,
-                                                                   true,
-                                                                   true,
-                                                                   true,
-                                                                   false)),
-                                                                   (String
-                                                                   ((Ascii
-                                                                   (true,
-                                                                   true,
-                                                                   false,
-                                                                   false,
-                                                                   true,
-                                                                   true,
-                                                                   true,
-                                                                   false)),
-                                                                   (String
-                                                                   ((Ascii
-                                                                   (true,
-                                                                   false,
-                                                                   true,
-                                                                   false,
-                                                                   false,
-                                                                   true,
-                                                                   true,
-                                                                   false)),
-                                                                   (String
-                                                                   ((Ascii
-                                                                   (false,
-                                                                   true,
-                                                                   true,
-                                                                   true,
-                                                                   false,
-                                                                   false,
-                                                                   true,
-                                                                   false)),
-                                                                   (String
-                                                                   ((Ascii
-                                                                   (true,
-                                                                   false,
-                                                                   true,
-                                                                   false,
-                                                                   true,
-                                                                   true,
-                                                                   true,
-                                                                   false)),
-                                                                   (String
-                                                                   ((Ascii
-                                                                   (true,
-                                                                   false,
-                                                                   true,
-                                                                   true,
-                                                                   false,
-                                                                   true,
-                                                                   true,
-                                                                   false)),
-                                                                   (String
-                                                                   ((Ascii
-                                                                   (false,
-                                                                   true,
-                                                                   true,
-                                                                   false,
-                                                                   false,
-                                                                   false,
-                                                                   true,
-                                                                   false)),
-                                                                   (String
-                                                                   ((Ascii
-                                                                   (true,
-                                                                   false,
-                                                                   false,
-                                                                   true,
-                                                                   false,
-                                                                   true,
-                                                                   true,
-                                                                   false)),
-                                                                   (String
-                                                                   ((Ascii
-                                                                   (true,
-                                                                   false,
-                                                                   true,
-                                                                   false,
-                                                                   false,
-                                                                   true,
-                                                                   true,
-                                                                   false)),
-                                                                   (String
-                                                                   ((Ascii
-                                                                   (false,
-                                                                   false,
-                                                                   true,
-                                                                   true,
-                                                                   false,
-                                                                   true,
-                                                                   true,
-                                                                   false)),
-                                                                   (String
-                                                                   ((Ascii
-                                                                   (false,
-                                                                   false,
-                                                                   true,
-                                                                   false,
-                                                                   false,
-                                                                   true,
-                                                                   true,
-                                                                   false)),
-                                                                   EmptyString)))))))))))))))))))))))))) :: [])) :: (
-    (mkcut (S (S (S (S (S (S (S (S (S (S (S (S (S (S (S (S (S (S (S (S (S (S
-      (S (S (S (S (S (S (S (S (S (S (S (S (S (S (S (S (S (S (S (S (S
-      O))))))))))))))))))))))))))))))))))))))))))) (S (S (S (S (S (S (S (S (S
-      (S (S (S (S (S (S (S (S (S (S (S (S (S (S (S (S (S (S (S (S (S (S (S (S
-      (S (S (S (S (S (S (S (S (S (S (S (S (S (S (S (S (S (S (S (S (S (S
-      O))))))))))))))))))))))))))))))))))))))))))))))))))))))) (String
-      ((Ascii (false, false, true, false, true, false, true, false)), (String
-      ((Ascii (true, true, true, true, false, true, true, false)), (String
-      ((Ascii (false, false, true, false, true, true, true, false)), (String
-      ((Ascii (true, false, false, false, false, true, true, false)), (String
-      ((Ascii (false, false, true, true, false, true, true, false)), (String
-      ((Ascii (true, true, false, false, false, false, true, false)), (String
-      ((Ascii (false, true, false, false, true, true, true, false)), (String
-      ((Ascii (true, false, true, false, false, true, true, false)), (String
-      ((Ascii (false, false, true, false, false, true, true, false)), (String
-      ((Ascii (true, false, false, true, false, true, true, false)), (String
-      ((Ascii (false, false, true, false, true, true, true, false)), (String
-      ((Ascii (true, false, true, false, false, false, true, false)), (String
-      ((Ascii (false, true, true, true, false, true, true, false)), (String
-      ((Ascii (false, false, true, false, true, true, true, false)), (String
-      ((Ascii (false, true, false, false, true, true, true, false)), (String
-      ((Ascii (true, false, false, true, true, true, true, false)), (String
-      ((Ascii (false, false, true, false, false, false, true, false)),
-      (String ((Ascii (true, true, true, true, false, true, true, false)),
-      (String ((Ascii (false, false, true, true, false, true, true, false)),
-      (String ((Ascii (false, false, true, true, false, true, true, false)),
-      (String ((Ascii (true, false, false, false, false, true, true, false)),
-      (String ((Ascii (false, true, false, false, true, true, true, false)),
-      (String ((Ascii (true, false, false, false, false, false, true,
-      false)), (String ((Ascii (true, false, true, true, false, true, true,
-      false)), (String ((Ascii (true, true, true, true, false, true, true,
-      false)), (String ((Ascii (true, false, true, false, true, true, true,
-      false)), (String ((Ascii (false, true, true, true, false, true, true,
-      false)), (String ((Ascii (false, false, true, false, true, true, true,
-      false)), (String ((Ascii (true, false, false, true, false, false, true,
-      false)), (String ((Ascii (false, true, true, true, false, true, true,
-      false)), (String ((Ascii (false, true, true, false, false, false, true,
-      false)), (String ((Ascii (true, false, false, true, false, true, true,
-      false)), (String ((Ascii (false, false, true, true, false, true, true,
-      false)), (String ((Ascii (true, false, true, false, false, true, true,
-      false)),
-      EmptyString))))))))))))))))))))))))))))))))))))))))))))))))))))))))))))))))))))
-      ((String ((Ascii (false, false, false, false, true, true, true,
-      false)), (String ((Ascii (true, false, false, false, false, true, true,
-      false)), (String ((Ascii (false, true, false, false, true, true, true,
-      false)), (String ((Ascii (true, true, false, false, true, true, true,
-      false)), (String ((Ascii (true, false, true, false, false, true, true,
-      false)), (String ((Ascii (false, true, true, true, false, false, true,
-      false)), (String ((Ascii (true, false, true, false, true, true, true,
-      false)), (String ((Ascii (true, false, true, true, false, true, true,
-      false)), (String ((Ascii (false, true, true, false, false, false, true,
-      false)), (String ((Ascii (true, false, false, true, false, true, true,
-      false)), (String ((Ascii (true, false, true, false, false, true, true,
-      false)), (String ((Ascii (false, false, true, true, false, true, true,
-      false)), (String ((Ascii (false, false, true, false, false, true, true,
-      false)), EmptyString)))))))))))))))))))))))))) :: [])) :: ((mkcut (S (S
-                                                                   (S (S (S
-                                                                   (S (S (S
-                                                                   (S (S (S
-                                                                   (S (S (S
-                                                                   (S (S (S
-                                                                   (S (S (S
-                                                                   (S (S (S
-                                                                   (S (S (S
-                                                                   (S (S (S
-                                                                   (S (S (S
-                                                                   (S (S (S
-                                                                   (S (S (S
-                                                                   (S (S (S
-                                                                   (S (S (S
-                                                                   (S (S (S
-                                                                   (S (S (S
-                                                                   (S (S (S
-                                                                   (S (S
-                                                                   O)))))))))))))))))))))))))))))))))))))))))))))))))))))))
-                                                                   (S (S (S
-                                                                   (S (S (S
-                                                                   (S (S (S
-                                                                   (S (S (S
-                                                                   (S (S (S
-                                                                   (S (S (S
-                                                                   (S (S (S
-                                                                   (S (S (S
-                                                                   (S (S (S
-                                                                   (S (S (S
-                                                                   (S (S (S
-                                                                   (S (S (S
-                                                                   (S (S (S
-                                                                   (S (S (S
-                                                                   (S (S (S
-                                                                   (S (S (S
-                                                                   (S (S (S
-                                                                   (S (S (S
-                                                                   (S (S (S
-                                                                   (S (S (S
-                                                                   (S (S (S
-                                                                   (S (S (S
-                                                                   (S (S (S
-                                                                   (S (S (S
-                                                                   (S (S (S
-                                                                   (S (S (S
-                                                                   (S (S (S
-                                                                   (S (S (S
-                                                                   (S (S (S
-                                                                   (S (S (S
-                                                                   (S (S (S
-                                                                   (S
-                                                                   O))))))))))))))))))))))))))))))))))))))))))))))))))))))))))))))))))))))))))))))))))))))))))))))
-                                                                   EmptyString
-                                                                   []) :: [])))))))) }
-
-(** val l_FileHeader : layout **)
-
-let l_FileHeader =
-  { l_name = (String ((Ascii (false, true, true, false, false, false, true,
-    false)), (String ((Ascii (true, false, false, true, false, true, true,
-    false)), (String ((Ascii (false, false, true, true, false, true, true,
-    false)), (String ((Ascii (true, false, true, false, false, true, true,
-    false)), (String ((Ascii (false, false, false, true, false, false, true,
-    false)), (String ((Ascii (true, false, true, false, false, true, true,
-    false)), (String ((Ascii (true, false, false, false, false, true, true,
-    false)), (String ((Ascii (false, false, true, false, false, true, true,
-    false)), (String ((Ascii (true, false, true, false, false, true, true,
-    false)), (String ((Ascii (false, true, false, false, true, true, true,
-    false)), EmptyString)))))))))))))))))))); l_ix = IRune; l_segs = ((SLit
-    ((Npos (XI (XO (XO (XO (XI XH)))))) :: [])) :: ((SRaw (String ((Ascii
-    (false, false, false, false, true, true, true, false)), (String ((Ascii
-    (false, true, false, false, true, true, true, false)), (String ((Ascii
-    (true, false, false, true, false, true, true, false)), (String ((Ascii
-    (true, true, true, true, false, true, true, false)), (String ((Ascii
-    (false, true, false, false, true, true, true, false)), (String ((Ascii
-    (true, false, false, true, false, true, true, false)), (String ((Ascii
-    (false, false, true, false, true, true, true, false)), (String ((Ascii
-    (true, false, false, true, true, true, true, false)), (String ((Ascii
-    (true, true, false, false, false, false, true, false)), (String ((Ascii
-    (true, true, true, true, false, true, true, false)), (String ((Ascii
-    (false, false, true, false, false, true, true, false)), (String ((Ascii
-    (true, false, true, false, false, true, true, false)),
-    EmptyString))))))))))))))))))))))))) :: ((SCustom ((String ((Ascii
-    (false, true, true, false, false, false, true, false)), (String ((Ascii
-    (true, false, false, true, false, true, true, false)), (String ((Ascii
-    (false, false, true, true, false, true, true, false)), (String ((Ascii
-    (true, false, true, false, false, true, true, false)), (String ((Ascii
-    (false, false, false, true, false, false, true, false)), (String ((Ascii
-    (true, false, true, false, false, true, true, false)), (String ((Ascii
-    (true, false, false, false, false, true, true, false)), (String ((Ascii
-    (false, false, true, false, false, true, true, false)), (String ((Ascii
-    (true, false, true, false, false, true, true, false)), (String ((Ascii
-    (false, true, false, false, true, true, true, false)), (String ((Ascii
-    (false, true, true, true, false, true, false, false)), (String ((Ascii
-    (true, false, false, true, false, false, true, false)), (String ((Ascii
-    (true, false, true, true, false, true, true, false)), (String ((Ascii
-    (true, false, true, true, false, true, true, false)), (String ((Ascii
-    (true, false, true, false, false, true, true, false)), (String ((Ascii
-    (false, false, true, false, false, true, true, false)), (String ((Ascii
-    (true, false, false, true, false, true, true, false)), (String ((Ascii
-    (true, false, false, false, false, true, true, false)), (String ((Ascii
-    (false, false, true, false, true, true, true, false)), (String ((Ascii
-    (true, false, true, false, false, true, true, false)), (String ((Ascii
-    (false, false, true, false, false, false, true, false)), (String ((Ascii
-    (true, false, true, false, false, true, true, false)), (String ((Ascii
-    (true, true, false, false, true, true, true, false)), (String ((Ascii
-    (false, false, true, false, true, true, true, false)), (String ((Ascii
-    (true, false, false, true, false, true, true, false)), (String ((Ascii
-    (false, true, true, true, false, true, true, false)), (String ((Ascii
-    (true, false, false, false, false, true, true, false)), (String ((Ascii
-    (false, false, true, false, true, true, true, false)), (String ((Ascii
-    (true, false, false, true, false, true, true, false)), (String ((Ascii
-    (true, true, true, true, false, true, true, false)), (String ((Ascii
-    (false, true, true, true, false, true, true, false)), (String ((Ascii
-    (false, true, true, false, false, false, true, false)), (String ((Ascii
-    (true, false, false, true, false, true, true, false)), (String ((Ascii
-    (true, false, true, false, false, true, true, false)), (String ((Ascii
-    (false, false, true, true, false, true, true, false)), (String ((Ascii
-    (false, false, true, false, false, true, true, false)),
-    EmptyString)))))))))))))))))))))))))))))))))))))))))))))))))))))))))))))))))))))))),
-    (String ((Ascii (true, true, true, false, true, true, false, false)),
-    (String ((Ascii (false, false, false, false, true, true, false, false)),
-    (String ((Ascii (true, true, false, false, false, true, true, false)),
-    (String ((Ascii (true, false, true, false, false, true, true, false)),
-    (String ((Ascii (true, false, true, false, false, true, true, false)),
-    (String ((Ascii (true, false, false, false, false, true, true, false)),
-    (String ((Ascii (false, true, false, false, false, true, true, false)),
-    (String ((Ascii (false, true, true, false, true, true, false, false)),
-    (String ((Ascii (false, true, true, false, false, true, true, false)),
-    (String ((Ascii (true, false, true, false, true, true, false, false)),
-    (String ((Ascii (false, true, true, false, false, true, true, false)),
-    (String ((Ascii (true, true, false, false, true, true, false, false)),
-    EmptyString)))))))))))))))))))))))))) :: ((SCustom ((String ((Ascii
-    (false, true, true, false, false, false, true, false)), (String ((Ascii
-    (true, false, false, true, false, true, true, false)), (String ((Ascii
-    (false, false, true, true, false, true, true, false)), (String ((Ascii
-    (true, false, true, false, false, true, true, false)), (String ((Ascii
-    (false, false, false, true, false, false, true, false)), (String ((Ascii
-    (true, false, true, false, false, true, true, false)), (String ((Ascii
-    (true, false, false, false, false, true, true, false)), (String ((Ascii
-    (false, false, true, false, false, true, true, false)), (String ((Ascii
-    (true, false, true, false, false, true, true, false)), (String ((Ascii
-    (false, true, false, false, true, true, true, false)), (String ((Ascii
-    (false, true, true, true, false, true, false, false)), (String ((Ascii
-    (true, false, false, true, false, false, true, false)), (String ((Ascii
-    (true, false, true, true, false, true, true, false)), (String ((Ascii
-    (true, false, true, true, false, true, true, false)), (String ((Ascii
-    (true, false, true, false, false, true, true, false)), (String ((Ascii
-    (false, false, true, false, false, true, true, false)), (String ((Ascii
-    (true, false, false, true, false, true, true, false)), (String ((Ascii
-    (true, false, false, false, false, true, true, false)), (String ((Ascii
-    (false, false, true, false, true, true, true, false)), (String ((Ascii
-    (true, false, true, false, false, true, true, false)), (String ((Ascii
-    (true, true, true, true, false, false, true, false)), (String ((Ascii
-    (false, true, false, false, true, true, true, false)), (String ((Ascii
-    (true, false, false, true, false, true, true, false)), (String ((Ascii
-    (true, true, true, false, false, true, true, false)), (String ((Ascii
-    (true, false, false, true, false, true, true, false)), (String ((Ascii
-    (false, true, true, true, false, true, true, false)), (String ((Ascii
-    (false, true, true, false, false, false, true, false)), (String ((Ascii
-    (true, false, false, true, false, true, true, false)), (String ((Ascii
-    (true, false, true, false, false, true, true, false)), (String ((Ascii
-    (false, false, true, true, false, true, true, false)), (String ((Ascii
-    (false, false, true, false, false, true, true, false)),
-    EmptyString)))))))))))))))))))))))))))))))))))))))))))))))))))))))))))))),
-    (String ((Ascii (true, false, false, false, true, true, false, false)),
-    (String ((Ascii (false, true, true, false, false, true, true, false)),
-    (String ((Ascii (false, false, false, false, true, true, false, false)),
-    (String ((Ascii (false, false, false, true, true, true, false, false)),
-    (String ((Ascii (false, false, false, false, true, true, false, false)),
-    (String ((Ascii (false, false, true, false, true, true, false, false)),
-    (String ((Ascii (false, true, false, false, false, true, true, false)),
-    (String ((Ascii (true, true, false, false, false, true, true, false)),
-    (String ((Ascii (false, true, false, false, false, true, true, false)),
-    (String ((Ascii (false, false, true, false, false, true, true, false)),
-    (String ((Ascii (true, false, false, false, false, true, true, false)),
-    (String ((Ascii (true, true, true, false, true, true, false, false)),
-    EmptyString)))))))))))))))))))))))))) :: ((SCustom ((String ((Ascii
-    (false, true, true, false, false, false, true, false)), (String ((Ascii
-    (true, false, false, true, false, true, true, false)), (String ((Ascii
-    (false, false, true, true, false, true, true, false)), (String ((Ascii
-    (true, false, true, false, false, true, true, false)), (String ((Ascii
-    (false, false, false, true, false, false, true, false)), (String ((Ascii
-    (true, false, true, false, false, true, true, false)), (String ((Ascii
-    (true, false, false, false, false, true, true, false)), (String ((Ascii
-    (false, false, true, false, false, true, true, false)), (String ((Ascii
-    (true, false, true, false, false, true, true, false)), (String ((Ascii
-    (false, true, false, false, true, true, true, false)), (String ((Ascii
-    (false, true, true, true, false, true, false, false)), (String ((Ascii
-    (false, true, true, false, false, false, true, false)), (String ((Ascii
-    (true, false, false, true, false, true, true, false)), (String ((Ascii
-    (false, false, true, true, false, true, true, false)), (String ((Ascii
-    (true, false, true, false, false, true, true, false)), (String ((Ascii
-    (true, true, false, false, false, false, true, false)), (String ((Ascii
-    (false, true, false, false, true, true, true, false)), (String ((Ascii
-    (true, false, true, false, false, true, true, false)), (String ((Ascii
-    (true, false, false, false, false, true, true, false)), (String ((Ascii
-    (false, false, true, false, true, true, true, false)), (String ((Ascii
-    (true, false, false, true, false, true, true, false)), (String ((Ascii
-    (true, true, true, true, false, true, true, false)), (String ((Ascii
-    (false, true, true, true, false, true, true, false)), (String ((Ascii
-    (false, false, true, false, false, false, true, false)), (String ((Ascii
-    (true, false, false, false, false, true, true, false)), (String ((Ascii
-    (false, false, true, false, true, true, true, false)), (String ((Ascii
-    (true, false, true, false, false, true, true, false)), (String ((Ascii
-    (false, true, true, false, false, false, true, false)), (String ((Ascii
-    (true, false, false, true, false, true, true, false)), (String ((Ascii
-    (true, false, true, false, false, true, true, false)), (String ((Ascii
-    (false, false, true, true, false, true, true, false)), (String ((Ascii
-    (false, false, true, false, false, true, true, false)),
-    EmptyString)))))))))))))))))))))))))))))))))))))))))))))))))))))))))))))))),
-    (String ((Ascii (true, false, false, false, true, true, false, false)),
-    (String ((Ascii (true, false, true, false, true, true, false, false)),
-    (String ((Ascii (true, true, false, false, false, true, true, false)),
-    (String ((Ascii (false, false, true, false, true, true, false, false)),
-    (String ((Ascii (true, true, true, false, true, true, false, false)),
-    (String ((Ascii (true, false, true, false, true, true, false, false)),
-    (String ((Ascii (true, true, false, false, false, true, true, false)),
-    (String ((Ascii (false, false, true, false, false, true, true, false)),
-    (String ((Ascii (true, false, false, false, false, true, true, false)),
-    (String ((Ascii (true, true, false, false, false, true, true, false)),
-    (String ((Ascii (false, true, false, false, false, true, true, false)),
-    (String ((Ascii (false, false, false, false, true, true, false, false)),
-    EmptyString)))))))))))))))))))))))))) :: ((SCustom ((String ((Ascii
-    (false, true, true, false, false, false, true, false)), (String ((Ascii
-    (true, false, false, true, false, true, true, false)), (String ((Ascii
-    (false, false, true, true, false, true, true, false)), (String ((Ascii
-    (true, false, true, false, false, true, true, false)), (String ((Ascii
-    (false, false, false, true, false, false, true, false)), (String ((Ascii
-    (true, false, true, false, false, true, true, false)), (String ((Ascii
-    (true, false, false, false, false, true, true, false)), (String ((Ascii
-    (false, false, true, false, false, true, true, false)), (String ((Ascii
-    (true, false, true, false, false, true, true, false)), (String ((Ascii
-    (false, true, false, false, true, true, true, false)), (String ((Ascii
-    (false, true, true, true, false, true, false, false)), (String ((Ascii
-    (false, true, true, false, false, false, true, false)), (String ((Ascii
-    (true, false, false, true, false, true, true, false)), (String ((Ascii
-    (false, false, true, true, false, true, true, false)), (String ((Ascii
-    (true, false, true, false, false, true, true, false)), (String ((Ascii
-    (true, true, false, false, false, false, true, false)), (String ((Ascii
-    (false, true, false, false, true, true, true, false)), (String ((Ascii
-    (true, false, true, false, false, true, true, false)), (String ((Ascii
-    (true, false, false, false, false, true, true, false)), (String ((Ascii
-    (false, false, true, false, true, true, true, false)), (String ((Ascii
-    (true, false, false, true, false, true, true, false)), (String ((Ascii
-    (true, true, true, true, false, true, true, false)), (String ((Ascii
-    (false, true, true, true, false, true, true, false)), (String ((Ascii
-    (false, false, true, false, true, false, true, false)), (String ((Ascii
-    (true, false, false, true, false, true, true, false)), (String ((Ascii
-    (true, false, true, true, false, true, true, false)), (String ((Ascii
-    (true, false, true, false, false, true, true, false)), (String ((Ascii
-    (false, true, true, false, false, false, true, false)), (String ((Ascii
-    (true, false, false, true, false, true, true, false)), (String ((Ascii
-    (true, false, true, false, false, true, true, false)), (String ((Ascii
-    (false, false, true, true, false, true, true, false)), (String ((Ascii
-    (false, false, true, false, false, true, true, false)),
-    EmptyString)))))))))))))))))))))))))))))))))))))))))))))))))))))))))))))))),
-    (String ((Ascii (true, false, false, true, true, true, false, false)),
-    (String ((Ascii (false, true, true, false, true, true, false, false)),
-    (String ((Ascii (false, true, true, false, false, true, true, false)),
-    (String ((Ascii (true, true, false, false, false, true, true, false)),
-    (String ((Ascii (true, true, true, false, true, true, false, false)),
-    (String ((Ascii (true, true, false, false, true, true, false, false)),
-    (String ((Ascii (true, false, true, false, false, true, true, false)),
-    (String ((Ascii (false, true, false, false, true, true, false, false)),
-    (String ((Ascii (false, false, true, false, true, true, false, false)),
-    (String ((Ascii (true, false, false, true, true, true, false, false)),
-    (String ((Ascii (true, false, false, false, false, true, true, false)),
-    (String ((Ascii (false, false, true, false, true, true, false, false)),
-    EmptyString)))))))))))))))))))))))))) :: ((SRaw (String ((Ascii (false,
-    true, true, false, false, false, true, false)), (String ((Ascii (true,
-    false, false, true, false, true, true, false)), (String ((Ascii (false,
-    false, true, true, false, true, true, false)), (String ((Ascii (true,
-    false, true, false, false, true, true, false)), (String ((Ascii (true,
-    false, false, true, false, false, true, false)), (String ((Ascii (false,
-    false, true, false, false, false, true, false)), (String ((Ascii (true,
-    false, true, true, false, false, true, false)), (String ((Ascii (true,
-    true, true, true, false, true, true, false)), (String ((Ascii (false,
-    false, true, false, false, true, true, false)), (String ((Ascii (true,
-    false, false, true, false, true, true, false)), (String ((Ascii (false,
-    true, true, false, false, true, true, false)), (String ((Ascii (true,
-    false, false, true, false, true, true, false)), (String ((Ascii (true,
-    false, true, false, false, true, true, false)), (String ((Ascii (false,
-    true, false, false, true, true, true, false)),
-    EmptyString))))))))))))))))))))))))))))) :: ((SRaw (String ((Ascii
-    (false, true, false, false, true, true, true, false)), (String ((Ascii
-    (true, false, true, false, false, true, true, false)), (String ((Ascii
-    (true, true, false, false, false, true, true, false)), (String ((Ascii
-    (true, true, true, true, false, true, true, false)), (String ((Ascii
-    (false, true, false, false, true, true, true, false)), (String ((Ascii
-    (false, false, true, false, false, true, true, false)), (String ((Ascii
-    (true, true, false, false, true, false, true, false)), (String ((Ascii
-    (true, false, false, true, false, true, true, false)), (String ((Ascii
-    (false, true, false, true, true, true, true, false)), (String ((Ascii
-    (true, false, true, false, false, true, true, false)),
-    EmptyString))))))))))))))))))))) :: ((SRaw (String ((Ascii (false, true,
-    false, false, false, true, true, false)), (String ((Ascii (false, false,
-    true, true, false, true, true, false)), (String ((Ascii (true, true,
-    true, true, false, true, true, false)), (String ((Ascii (true, true,
-    false, false, false, true, true, false)), (String ((Ascii (true, true,
-    false, true, false, true, true, false)), (String ((Ascii (true, false,
-    false, true, false, true, true, false)), (String ((Ascii (false, true,
-    true, true, false, true, true, false)), (String ((Ascii (true, true,
-    true, false, false, true, true, false)), (String ((Ascii (false, true,
-    true, false, false, false, true, false)), (String ((Ascii (true, false,
-    false, false, false, true, true, false)), (String ((Ascii (true, true,
-    false, false, false, true, true, false)), (String ((Ascii (false, false,
-    true, false, true, true, true, false)), (String ((Ascii (true, true,
-    true, true, false, true, true, false)), (String ((Ascii (false, true,
-    false, false, true, true, true, false)),
-    EmptyString))))))))))))))))))))))))))))) :: ((SRaw (String ((Ascii
-    (false, true, true, false, false, true, true, false)), (String ((Ascii
-    (true, true, true, true, false, true, true, false)), (String ((Ascii
-    (false, true, false, false, true, true, true, false)), (String ((Ascii
-    (true, false, true, true, false, true, true, false)), (String ((Ascii
-    (true, false, false, false, false, true, true, false)), (String ((Ascii
-    (false, false, true, false, true, true, true, false)), (String ((Ascii
-    (true, true, false, false, false, false, true, false)), (String ((Ascii
-    (true, true, true, true, false, true, true, false)), (String ((Ascii
-    (false, false, true, false, false, true, true, false)), (String ((Ascii
-    (true, false, true, false, false, true, true, false)),
-    EmptyString))))))))))))))))))))) :: ((SAlpha ((String ((Ascii (true,
-    false, false, true, false, false, true, false)), (String ((Ascii (true,
-    false, true, true, false, true, true, false)), (String ((Ascii (true,
-    false, true, true, false, true, true, false)), (String ((Ascii (true,
-    false, true, false, false, true, true, false)), (String ((Ascii (false,
-    false, true, false, false, true, true, false)), (String ((Ascii (true,
-    false, false, true, false, true, true, false)), (String ((Ascii (true,
-    false, false, false, false, true, true, false)), (String ((Ascii (false,
-    false, true, false, true, true, true, false)), (String ((Ascii (true,
-    false, true, false, false, true, true, false)), (String ((Ascii (false,
-    false, true, false, false, false, true, false)), (String ((Ascii (true,
-    false, true, false, false, true, true, false)), (String ((Ascii (true,
-    true, false, false, true, true, true, false)), (String ((Ascii (false,
-    false, true, false, true, true, true, false)), (String ((Ascii (true,
-    false, false, true, false, true, true, false)), (String ((Ascii (false,
-    true, true, true, false, true, true, false)), (String ((Ascii (true,
-    false, false, false, false, true, true, false)), (String ((Ascii (false,
-    false, true, false, true, true, true, false)), (String ((Ascii (true,
-    false, false, true, false, true, true, false)), (String ((Ascii (true,
-    true, true, true, false, true, true, false)), (String ((Ascii (false,
-    true, true, true, false, true, true, false)), (String ((Ascii (false,
-    true, true, true, false, false, true, false)), (String ((Ascii (true,
-    false, false, false, false, true, true, false)), (String ((Ascii (true,
-    false, true, true, false, true, true, false)), (String ((Ascii (true,
-    false, true, false, false, true, true, false)),
-    EmptyString)))))))))))))))))))))))))))))))))))))))))))))))), (S (S (S (S
-    (S (S (S (S (S (S (S (S (S (S (S (S (S (S (S (S (S (S (S
-    O))))))))))))))))))))))))) :: ((SAlpha ((String ((Ascii (true, false,
-    false, true, false, false, true, false)), (String ((Ascii (true, false,
-    true, true, false, true, true, false)), (String ((Ascii (true, false,
-    true, true, false, true, true, false)), (String ((Ascii (true, false,
-    true, false, false, true, true, false)), (String ((Ascii (false, false,
-    true, false, false, true, true, false)), (String ((Ascii (true, false,
-    false, true, false, true, true, false)), (String ((Ascii (true, false,
-    false, false, false, true, true, false)), (String ((Ascii (false, false,
-    true, false, true, true, true, false)), (String ((Ascii (true, false,
-    true, false, false, true, true, false)), (String ((Ascii (true, true,
-    true, true, false, false, true, false)), (String ((Ascii (false, true,
-    false, false, true, true, true, false)), (String ((Ascii (true, false,
-    false, true, false, true, true, false)), (String ((Ascii (true, true,
-    true, false, false, true, true, false)), (String ((Ascii (true, false,
-    false, true, false, true, true, false)), (String ((Ascii (false, true,
-    true, true, false, true, true, false)), (String ((Ascii (false, true,
-    true, true, false, false, true, false)), (String ((Ascii (true, false,
-    false, false, false, true, true, false)), (String ((Ascii (true, false,
-    true, true, false, true, true, false)), (String ((Ascii (true, false,
-    true, false, false, true, true, false)),
-    EmptyString)))))))))))))))))))))))))))))))))))))), (S (S (S (S (S (S (S
-    (S (S (S (S (S (S (S (S (S (S (S (S (S (S (S (S
-    O))))))))))))))))))))))))) :: ((SAlpha ((String ((Ascii (false, true,
-    false, false, true, false, true, false)), (String ((Ascii (true, false,
-    true, false, false, true, true, false)), (String ((Ascii (false, true,
-    true, false, false, true, true, false)), (String ((Ascii (true, false,
-    true, false, false, true, true, false)), (String ((Ascii (false, true,
-    false, false, true, true, true, false)), (String ((Ascii (true, false,
-    true, false, false, true, true, false)), (String ((Ascii (false, true,
-    true, true, false, true, true, false)), (String ((Ascii (true, true,
-    false, false, false, true, true, false)), (String ((Ascii (true, false,
-    true, false, false, true, true, false)), (String ((Ascii (true, true,
-    false, false, false, false, true, false)), (String ((Ascii (true, true,
-    true, true, false, true, true, false)), (String ((Ascii (false, false,
-    true, false, false, true, true, false)), (String ((Ascii (true, false,
-    true, false, false, true, true, false)),
-    EmptyString)))))))))))))))))))))))))), (S (S (S (S (S (S (S (S
-    O)))))))))) :: []))))))))))))); l_cuts =
-    ((mkconst (String ((Ascii (false, false, false, false, true, true, true,
-       false)), (String ((Ascii (false, true, false, false, true, true, true,
-       false)), (String ((Ascii (true, false, false, true, false, true, true,
-       false)), (String ((Ascii (true, true, true, true, false, true, true,
-       false)), (String ((Ascii (false, true, false, false, true, true, true,
-       false)), (String ((Ascii (true, false, false, true, false, true, true,
-       false)), (String ((Ascii (false, false, true, false, true, true, true,
-       false)), (String ((Ascii (true, false, false, true, true, true, true,
-       false)), (String ((Ascii (true, true, false, false, false, false,
-       true, false)), (String ((Ascii (true, true, true, true, false, true,
-       true, false)), (String ((Ascii (false, false, true, false, false,
-       true, true, false)), (String ((Ascii (true, false, true, false, false,
-       true, true, false)), EmptyString)))))))))))))))))))))))) ((Npos (XO
-       (XO (XO (XO (XI XH)))))) :: ((Npos (XI (XO (XO (XO (XI
-       XH)))))) :: []))) :: ((mkcut (S (S (S O))) (S (S (S (S (S (S (S (S (S
-                               (S (S (S (S O))))))))))))) (String ((Ascii
-                               (true, false, false, true, false, false, true,
-                               false)), (String ((Ascii (true, false, true,
-                               true, false, true, true, false)), (String
-                               ((Ascii (true, false, true, true, false, true,
-                               true, false)), (String ((Ascii (true, false,
-                               true, false, false, true, true, false)),
-                               (String ((Ascii (false, false, true, false,
-                               false, true, true, false)), (String ((Ascii
-                               (true, false, false, true, false, true, true,
-                               false)), (String ((Ascii (true, false, false,
-                               false, false, true, true, false)), (String
-                               ((Ascii (false, false, true, false, true,
-                               true, true, false)), (String ((Ascii (true,
-                               false, true, false, false, true, true,
-                               false)), (String ((Ascii (false, false, true,
-                               false, false, false, true, false)), (String
-                               ((Ascii (true, false, true, false, false,
-                               true, true, false)), (String ((Ascii (true,
-                               true, false, false, true, true, true, false)),
-                               (String ((Ascii (false, false, true, false,
-                               true, true, true, false)), (String ((Ascii
-                               (true, false, false, true, false, true, true,
-                               false)), (String ((Ascii (false, true, true,
-                               true, false, true, true, false)), (String
-                               ((Ascii (true, false, false, false, false,
-                               true, true, false)), (String ((Ascii (false,
-                               false, true, false, true, true, true, false)),
-                               (String ((Ascii (true, false, false, true,
-                               false, true, true, false)), (String ((Ascii
-                               (true, true, true, true, false, true, true,
-                               false)), (String ((Ascii (false, true, true,
-                               true, false, true, true, false)),
-                               EmptyString))))))))))))))))))))))))))))))))))))))))
-                               ((String ((Ascii (false, false, true, false,
-                               true, true, true, false)), (String ((Ascii
-                               (false, true, false, false, true, true, true,
-                               false)), (String ((Ascii (true, false, false,
-                               true, false, true, true, false)), (String
-                               ((Ascii (true, false, true, true, false, true,
-                               true, false)), (String ((Ascii (false, true,
-                               false, false, true, false, true, false)),
-                               (String ((Ascii (true, true, true, true,
-                               false, true, true, false)), (String ((Ascii
-                               (true, false, true, false, true, true, true,
-                               false)), (String ((Ascii (false, false, true,
-                               false, true, true, true, false)), (String
-                               ((Ascii (true, false, false, true, false,
-                               true, true, false)), (String ((Ascii (false,
-                               true, true, true, false, true, true, false)),
-                               (String ((Ascii (true, true, true, false,
-                               false, true, true, false)), (String ((Ascii
-                               (false, true, true, true, false, false, true,
-                               false)), (String ((Ascii (true, false, true,
-                               false, true, true, true, false)), (String
-                               ((Ascii (true, false, true, true, false, true,
-                               true, false)), (String ((Ascii (false, true,
-                               false, false, false, true, true, false)),
-                               (String ((Ascii (true, false, true, false,
-                               false, true, true, false)), (String ((Ascii
-                               (false, true, false, false, true, true, true,
-                               false)), (String ((Ascii (false, false, true,
-                               true, false, false, true, false)), (String
-                               ((Ascii (true, false, true, false, false,
-                               true, true, false)), (String ((Ascii (true,
-                               false, false, false, false, true, true,
-                               false)), (String ((Ascii (false, false, true,
-                               false, false, true, true, false)), (String
-                               ((Ascii (true, false, false, true, false,
-                               true, true, false)), (String ((Ascii (false,
-                               true, true, true, false, true, true, false)),
-                               (String ((Ascii (true, true, true, false,
-                               false, true, true, false)), (String ((Ascii
-                               (false, true, false, true, true, false, true,
-                               false)), (String ((Ascii (true, false, true,
-                               false, false, true, true, false)), (String
-                               ((Ascii (false, true, false, false, true,
-                               true, true, false)), (String ((Ascii (true,
-                               true, true, true, false, true, true, false)),
-                               EmptyString)))))))))))))))))))))))))))))))))))))))))))))))))))))))) :: ((String
-                               ((Ascii (false, false, false, false, true,
-                               true, true, false)), (String ((Ascii (true,
-                               false, false, false, false, true, true,
-                               false)), (String ((Ascii (false, true, false,
-                               false, true, true, true, false)), (String
-                               ((Ascii (true, true, false, false, true, true,
-                               true, false)), (String ((Ascii (true, false,
-                               true, false, false, true, true, false)),
-                               (String ((Ascii (true, true, false, false,
-                               true, false, true, false)), (String ((Ascii
-                               (false, false, true, false, true, true, true,
-                               false)), (String ((Ascii (false, true, false,
-                               false, true, true, true, false)), (String
-                               ((Ascii (true, false, false, true, false,
-                               true, true, false)), (String ((Ascii (false,
-                               true, true, true, false, true, true, false)),
-                               (String ((Ascii (true, true, true, false,
-                               false, true, true, false)), (String ((Ascii
-                               (false, true, true, false, false, false, true,
-                               false)), (String ((Ascii (true, false, false,
-                               true, false, true, true, false)), (String
-                               ((Ascii (true, false, true, false, false,
-                               true, true, false)), (String ((Ascii (false,
-                               false, true, true, false, true, true, false)),
-                               (String ((Ascii (false, false, true, false,
-                               false, true, true, false)),
-                               EmptyString)))))))))))))))))))))))))))))))) :: []))) :: (
-    (mkcut (S (S (S (S (S (S (S (S (S (S (S (S (S O))))))))))))) (S (S (S (S
-      (S (S (S (S (S (S (S (S (S (S (S (S (S (S (S (S (S (S (S
-      O))))))))))))))))))))))) (String ((Ascii (true, false, false, true,
-      false, false, true, false)), (String ((Ascii (true, false, true, true,
-      false, true, true, false)), (String ((Ascii (true, false, true, true,
-      false, true, true, false)), (String ((Ascii (true, false, true, false,
-      false, true, true, false)), (String ((Ascii (false, false, true, false,
-      false, true, true, false)), (String ((Ascii (true, false, false, true,
-      false, true, true, false)), (String ((Ascii (true, false, false, false,
-      false, true, true, false)), (String ((Ascii (false, false, true, false,
-      true, true, true, false)), (String ((Ascii (true, false, true, false,
-      false, true, true, false)), (String ((Ascii (true, true, true, true,
-      false, false, true, false)), (String ((Ascii (false, true, false,
-      false, true, true, true, false)), (String ((Ascii (true, false, false,
-      true, false, true, true, false)), (String ((Ascii (true, true, true,
-      false, false, true, true, false)), (String ((Ascii (true, false, false,
-      true, false, true, true, false)), (String ((Ascii (false, true, true,
-      true, false, true, true, false)),
-      EmptyString)))))))))))))))))))))))))))))) ((String ((Ascii (false,
-      false, true, false, true, true, true, false)), (String ((Ascii (false,
-      true, false, false, true, true, true, false)), (String ((Ascii (true,
-      false, false, true, false, true, true, false)), (String ((Ascii (true,
-      false, true, true, false, true, true, false)), (String ((Ascii (false,
-      true, false, false, true, false, true, false)), (String ((Ascii (true,
-      true, true, true, false, true, true, false)), (String ((Ascii (true,
-      false, true, false, true, true, true, false)), (String ((Ascii (false,
-      false, true, false, true, true, true, false)), (String ((Ascii (true,
-      false, false, true, false, true, true, false)), (String ((Ascii (false,
-      true, true, true, false, true, true, false)), (String ((Ascii (true,
-      true, true, false, false, true, true, false)), (String ((Ascii (false,
-      true, true, true, false, false, true, false)), (String ((Ascii (true,
-      false, true, false, true, true, true, false)), (String ((Ascii (true,
-      false, true, true, false, true, true, false)), (String ((Ascii (false,
-      true, false, false, false, true, true, false)), (String ((Ascii (true,
-      false, true, false, false, true, true, false)), (String ((Ascii (false,
-      true, false, false, true, true, true, false)), (String ((Ascii (false,
-      false, true, true, false, false, true, false)), (String ((Ascii (true,
-      false, true, false, false, true, true, false)), (String ((Ascii (true,
-      false, false, false, false, true, true, false)), (String ((Ascii
-      (false, false, true, false, false, true, true, false)), (String ((Ascii
-      (true, false, false, true, false, true, true, false)), (String ((Ascii
-      (false, true, true, true, false, true, true, false)), (String ((Ascii
-      (true, true, true, false, false, true, true, false)), (String ((Ascii
-      (false, true, false, true, true, false, true, false)), (String ((Ascii
-      (true, false, true, false, false, true, true, false)), (String ((Ascii
-      (false, true, false, false, true, true, true, false)), (String ((Ascii
-      (true, true, true, true, false, true, true, false)),
-      EmptyString)))))))))))))))))))))))))))))))))))))))))))))))))))))))) :: ((String
-      ((Ascii (false, false, false, false, true, true, true, false)), (String
-      ((Ascii (true, false, false, false, false, true, true, false)), (String
-      ((Ascii (false, true, false, false, true, true, true, false)), (String
-      ((Ascii (true, true, false, false, true, true, true, false)), (String
-      ((Ascii (true, false, true, false, false, true, true, false)), (String
-      ((Ascii (true, true, false, false, true, false, true, false)), (String
-      ((Ascii (false, false, true, false, true, true, true, false)), (String
-      ((Ascii (false, true, false, false, true, true, true, false)), (String
-      ((Ascii (true, false, false, true, false, true, true, false)), (String
-      ((Ascii (false, true, true, true, false, true, true, false)), (String
-      ((Ascii (true, true, true, false, false, true, true, false)), (String
-      ((Ascii (false, true, true, false, false, false, true, false)), (String
-      ((Ascii (true, false, false, true, false, true, true, false)), (String
-      ((Ascii (true, false, true, false, false, true, true, false)), (String
-      ((Ascii (false, false, true, true, false, true, true, false)), (String
-      ((Ascii (false, false, true, false, false, true, true, false)),
-      EmptyString)))))))))))))))))))))))))))))))) :: []))) :: ((mkcut (S (S
-                                                                 (S (S (S (S
-                                                                 (S (S (S (S
-                                                                 (S (S (S (S
-                                                                 (S (S (S (S
-                                                                 (S (S (S (S
-                                                                 (S
-                                                                 O)))))))))))))))))))))))
-                                                                 (S (S (S (S
-                                                                 (S (S (S (S
-                                                                 (S (S (S (S
-                                                                 (S (S (S (S
-                                                                 (S (S (S (S
-                                                                 (S (S (S (S
-                                                                 (S (S (S (S
-                                                                 (S
-                                                                 O)))))))))))))))))))))))))))))
-                                                                 (String
-                                                                 ((Ascii
-                                                                 (false,
-                                                                 true, true,
-                                                                 false,
-                                                                 false,
-                                                                 false, true,
-                                                                 false)),
-                                                                 (String
-                                                                 ((Ascii
-                                                                 (true,
-                                                                 false,
-                                                                 false, true,
-                                                                 false, true,
-                                                                 true,
-                                                                 false)),
-                                                                 (String
-                                                                 ((Ascii
-                                                                 (false,
-                                                                 false, true,
-                                                                 true, false,
-                                                                 true, true,
-                                                                 false)),
-                                                                 (String
-                                                                 ((Ascii
-                                                                 (true,
-                                                                 false, true,
-                                                                 false,
-                                                                 false, true,
-                                                                 true,
-                                                                 false)),
-                                                                 (String
-                                                                 ((Ascii
-                                                                 (true, true,
-                                                                 false,
-                                                                 false,
-                                                                 false,
-                                                                 false, true,
-                                                                 false)),
-                                                                 (String
-                                                                 ((Ascii
-                                                                 (false,
-                                                                 true, false,
-                                                                 false, true,
-                                                                 true, true,
-                                                                 false)),
-                                                                 (String
-                                                                 ((Ascii
-                                                                 (true,
-                                                                 false, true,
-                                                                 false,
-                                                                 false, true,
-                                                                 true,
-                                                                 false)),
-                                                                 (String
-                                                                 ((Ascii
-                                                                 (true,
-                                                                 false,
-                                                                 false,
-                                                                 false,
-                                                                 false, true,
-                                                                 true,
-                                                                 false)),
-                                                                 (String
-                                                                 ((Ascii
-                                                                 (false,
-                                                                 false, true,
-                                                                 false, true,
-                                                                 true, true,
-                                                                 false)),
-                                                                 (String
-                                                                 ((Ascii
-                                                                 (true,
-                                                                 false,
-                                                                 false, true,
-                                                                 false, true,
-                                                                 true,
-                                                                 false)),
-                                                                 (String
-                                                                 ((Ascii
-                                                                 (true, true,
-                                                                 true, true,
-                                                                 false, true,
-                                                                 true,
-                                                                 false)),
-                                                                 (String
-                                                                 ((Ascii
-                                                                 (false,
-                                                                 true, true,
-                                                                 true, false,
-                                                                 true, true,
-                                                                 false)),
-                                                                 (String
-                                                                 ((Ascii
-                                                                 (false,
-                                                                 false, true,
-                                                                 false,
-                                                                 false,
-                                                                 false, true,
-                                                                 false)),
-                                                                 (String
-                                                                 ((Ascii
-                                                                 (true,
-                                                                 false,
-                                                                 false,
-                                                                 false,
-                                                                 false, true,
-                                                                 true,
-                                                                 false)),
-                                                                 (String
-                                                                 ((Ascii
-                                                                 (false,
-                                                                 false, true,
-                                                                 false, true,
-                                                                 true, true,
-                                                                 false)),
-                                                                 (String
-                                                                 ((Ascii
-                                                                 (true,
-                                                                 false, true,
-                                                                 false,
-                                                                 false, true,
-                                                                 true,
-                                                                 false)),
-                                                                 EmptyString))))))))))))))))))))))))))))))))
-                                                                 ((String
-                                                                 ((Ascii
-                                                                 (false,
-                                                                 true, true,
-                                                                 false, true,
-                                                                 true, true,
-                                                                 false)),
-                                                                 (String
-                                                                 ((Ascii
-                                                                 (true,
-                                                                 false,
-                                                                 false,
-                                                                 false,
-                                                                 false, true,
-                                                                 true,
-                                                                 false)),
-                                                                 (String
-                                                                 ((Ascii
-                                                                 (false,
-                                                                 false, true,
-                                                                 true, false,
-                                                                 true, true,
-                                                                 false)),
-                                                                 (String
-                                                                 ((Ascii
-                                                                 (true,
-                                                                 false,
-                                                                 false, true,
-                                                                 false, true,
-                                                                 true,
-                                                                 false)),
-                                                                 (String
-                                                                 ((Ascii
-                                                                 (false,
-                                                                 false, true,
-                                                                 false,
-                                                                 false, true,
-                                                                 true,
-                                                                 false)),
-                                                                 (String
-                                                                 ((Ascii
-                                                                 (true,
-                                                                 false,
-                                                                 false,
-                                                                 false,
-                                                                 false, true,
-                                                                 true,
-                                                                 false)),
-                                                                 (String
-                                                                 ((Ascii
-                                                                 (false,
-                                                                 false, true,
-                                                                 false, true,
-                                                                 true, true,
-                                                                 false)),
-                                                                 (String
-                                                                 ((Ascii
-                                                                 (true,
-                                                                 false, true,
-                                                                 false,
-                                                                 false, true,
-                                                                 true,
-                                                                 false)),
-                                                                 (String
-                                                                 ((Ascii
-                                                                 (true, true,
-                                                                 false,
-                                                                 false, true,
-                                                                 false, true,
-                                                                 false)),
-                                                                 (String
-                                                                 ((Ascii
-                                                                 (true,
-                                                                 false,
-                                                                 false, true,
-                                                                 false, true,
-                                                                 true,
-                                                                 false)),
-                                                                 (String
-                                                                 ((Ascii
-                                                                 (true,
-                                                                 false, true,
-                                                                 true, false,
-                                                                 true, true,
-                                                                 false)),
-                                                                 (String
-                                                                 ((Ascii
-                                                                 (false,
-                                                                 false,
-                                                                 false,
-                                                                 false, true,
-                                                                 true, true,
-                                                                 false)),
-                                                                 (String
-                                                                 ((Ascii
-                                                                 (false,
-                                                                 false, true,
-                                                                 true, false,
-                                                                 true, true,
-                                                                 false)),
-                                                                 (String
-                                                                 ((Ascii
-                                                                 (true,
-                                                                 false, true,
-                                                                 false,
-                                                                 false, true,
-                                                                 true,
-                                                                 false)),
-                                                                 (String
-                                                                 ((Ascii
-                                                                 (false,
-                                                                 false, true,
-                                                                 false,
-                                                                 false,
-                                                                 false, true,
-                                                                 false)),
-                                                                 (String
-                                                                 ((Ascii
-                                                                 (true,
-                                                                 false,
-                                                                 false,
-                                                                 false,
-                                                                 false, true,
-                                                                 true,
-                                                                 false)),
-                                                                 (String
-                                                                 ((Ascii
-                                                                 (false,
-                                                                 false, true,
-                                                                 false, true,
-                                                                 true, true,
-                                                                 false)),
-                                                                 (String
-                                                                 ((Ascii
-                                                                 (true,
-                                                                 false, true,
-                                                                 false,
-                                                                 false, true,
-                                                                 true,
-                                                                 false)),
-                                                                 EmptyString)))))))))))))))))))))))))))))))))))) :: [])) :: (
-    (mkcut (S (S (S (S (S (S (S (S (S (S (S (S (S (S (S (S (S (S (S (S (S (S
-      (S (S (S (S (S (S (S O))))))))))))))))))))))))))))) (S (S (S (S (S (S
-      (S (S (S (S (S (S (S (S (S (S (S (S (S (S (S (S (S (S (S (S (S (S (S (S
-      (S (S (S O))))))))))))))))))))))))))))))))) (String ((Ascii (false,
-      true, true, false, false, false, true, false)), (String ((Ascii (true,
-      false, false, true, false, true, true, false)), (String ((Ascii (false,
-      false, true, true, false, true, true, false)), (String ((Ascii (true,
-      false, true, false, false, true, true, false)), (String ((Ascii (true,
-      true, false, false, false, false, true, false)), (String ((Ascii
-      (false, true, false, false, true, true, true, false)), (String ((Ascii
-      (true, false, true, false, false, true, true, false)), (String ((Ascii
-      (true, false, false, false, false, true, true, false)), (String ((Ascii
-      (false, false, true, false, true, true, true, false)), (String ((Ascii
-      (true, false, false, true, false, true, true, false)), (String ((Ascii
-      (true, true, true, true, false, true, true, false)), (String ((Ascii
-      (false, true, true, true, false, true, true, false)), (String ((Ascii
-      (false, false, true, false, true, false, true, false)), (String ((Ascii
-      (true, false, false, true, false, true, true, false)), (String ((Ascii
-      (true, false, true, true, false, true, true, false)), (String ((Ascii
-      (true, false, true, false, false, true, true, false)),
-      EmptyString)))))))))))))))))))))))))))))))) ((String ((Ascii (false,
-      true, true, false, true, true, true, false)), (String ((Ascii (true,
-      false, false, false, false, true, true, false)), (String ((Ascii
-      (false, false, true, true, false, true, true, false)), (String ((Ascii
-      (true, false, false, true, false, true, true, false)), (String ((Ascii
-      (false, false, true, false, false, true, true, false)), (String ((Ascii
-      (true, false, false, false, false, true, true, false)), (String ((Ascii
-      (false, false, true, false, true, true, true, false)), (String ((Ascii
-      (true, false, true, false, false, true, true, false)), (String ((Ascii
-      (true, true, false, false, true, false, true, false)), (String ((Ascii
-      (true, false, false, true, false, true, true, false)), (String ((Ascii
-      (true, false, true, true, false, true, true, false)), (String ((Ascii
-      (false, false, false, false, true, true, true, false)), (String ((Ascii
-      (false, false, true, true, false, true, true, false)), (String ((Ascii
-      (true, false, true, false, false, true, true, false)), (String ((Ascii
-      (false, false, true, false, true, false, true, false)), (String ((Ascii
-      (true, false, false, true, false, true, true, false)), (String ((Ascii
-      (true, false, true, true, false, true, true, false)), (String ((Ascii
-      (true, false, true, false, false, true, true, false)),
-      EmptyString)))))))))))))))))))))))))))))))))))) :: [])) :: ((mkcut (S
-                                                                    (S (S (S
-                                                                    (S (S (S
-                                                                    (S (S (S
-                                                                    (S (S (S
-                                                                    (S (S (S
-                                                                    (S (S (S
-                                                                    (S (S (S
-                                                                    (S (S (S
-                                                                    (S (S (S
-                                                                    (S (S (S
-                                                                    (S (S
-                                                                    O)))))))))))))))))))))))))))))))))
-                                                                    (S (S (S
-                                                                    (S (S (S
-                                                                    (S (S (S
-                                                                    (S (S (S
-                                                                    (S (S (S
-                                                                    (S (S (S
-                                                                    (S (S (S
-                                                                    (S (S (S
-                                                                    (S (S (S
-                                                                    (S (S (S
-                                                                    (S (S (S
-                                                                    (S
-                                                                    O))))))))))))))))))))))))))))))))))
-                                                                    (String
-                                                                    ((Ascii
-                                                                    (false,
-                                                                    true,
-                                                                    true,
-                                                                    false,
-                                                                    false,
-                                                                    false,
-                                                                    true,
-                                                                    false)),
-                                                                    (String
-                                                                    ((Ascii
-                                                                    (true,
-                                                                    false,
-                                                                    false,
-                                                                    true,
-                                                                    false,
-                                                                    true,
-                                                                    true,
-                                                                    false)),
-                                                                    (String
-                                                                    ((Ascii
-                                                                    (false,
-                                                                    false,
-                                                                    true,
-                                                                    true,
-                                                                    false,
-                                                                    true,
-                                                                    true,
-                                                                    false)),
-                                                                    (String
-                                                                    ((Ascii
-                                                                    (true,
-                                                                    false,
-                                                                    true,
-                                                                    false,
-                                                                    false,
-                                                                    true,
-                                                                    true,
-                                                                    false)),
-                                                                    (String
-                                                                    ((Ascii
-                                                                    (true,
-                                                                    false,
-                                                                    false,
-                                                                    true,
-                                                                    false,
-                                                                    false,
-                                                                    true,
-                                                                    false)),
-                                                                    (String
-                                                                    ((Ascii
-                                                                    (false,
-                                                                    false,
-                                                                    true,
-                                                                    false,
-                                                                    false,
-                                                                    false,
-                                                                    true,
-                                                                    false)),
-                                                                    (String
-                                                                    ((Ascii
-                                                                    (true,
-                                                                    false,
-                                                                    true,
-                                                                    true,
-                                                                    false,
-                                                                    false,
-                                                                    true,
-                                                                    false)),
-                                                                    (String
-                                                                    ((Ascii
-                                                                    (true,
-                                                                    true,
-                                                                    true,
-                                                                    true,
-                                                                    false,
-                                                                    true,
-                                                                    true,
-                                                                    false)),
-                                                                    (String
-                                                                    ((Ascii
-                                                                    (false,
-                                                                    false,
-                                                                    true,
-                                                                    false,
-                                                                    false,
-                                                                    true,
-                                                                    true,
-                                                                    false)),
-                                                                    (String
-                                                                    ((Ascii
-                                                                    (true,
-                                                                    false,
-                                                                    false,
-                                                                    true,
-                                                                    false,
-                                                                    true,
-                                                                    true,
-                                                                    false)),
-                                                                    (String
-                                                                    ((Ascii
-                                                                    (false,
-                                                                    true,
-                                                                    true,
-                                                                    false,
-                                                                    false,
-                                                                    true,
-                                                                    true,
-                                                                    false)),
-                                                                    (String
-                                                                    ((Ascii
-                                                                    (true,
-                                                                    false,
-                                                                    false,
-                                                                    true,
-                                                                    false,
-                                                                    true,
-                                                                    true,
-                                                                    false)),
-                                                                    (String
-                                                                    ((Ascii
-                                                                    (true,
-                                                                    false,
-                                                                    true,
-                                                                    false,
-                                                                    false,
-                                                                    true,
-                                                                    true,
-                                                                    false)),
-                                                                    (String
-                                                                    ((Ascii
-                                                                    (false,
-                                                                    true,
-                                                                    false,
-                                                                    false,
-                                                                    true,
-                                                                    true,
-                                                                    true,
-                                                                    false)),
-                                                                    EmptyString))))))))))))))))))))))))))))
-                                                                    []) :: (
-    (mkconst (String ((Ascii (false, true, false, false, true, true, true,
-      false)), (String ((Ascii (true, false, true, false, false, true, true,
-      false)), (String ((Ascii (true, true, false, false, false, true, true,
-      false)), (String ((Ascii (true, true, true, true, false, true, true,
-      false)), (String ((Ascii (false, true, false, false, true, true, true,
-      false)), (String ((Ascii (false, false, true, false, false, true, true,
-      false)), (String ((Ascii (true, true, false, false, true, false, true,
-      false)), (String ((Ascii (true, false, false, true, false, true, true,
-      false)), (String ((Ascii (false, true, false, true, true, true, true,
-      false)), (String ((Ascii (true, false, true, false, false, true, true,
-      false)), EmptyString)))))))))))))))))))) ((Npos (XO (XO (XO (XO (XI
-      XH)))))) :: ((Npos (XI (XO (XO (XI (XI XH)))))) :: ((Npos (XO (XO (XI
-      (XO (XI XH)))))) :: [])))) :: ((mkconst (String ((Ascii (false, true,
-                                       false, false, false, true, true,
-                                       false)), (String ((Ascii (false,
-                                       false, true, true, false, true, true,
-                                       false)), (String ((Ascii (true, true,
-                                       true, true, false, true, true,
-                                       false)), (String ((Ascii (true, true,
-                                       false, false, false, true, true,
-                                       false)), (String ((Ascii (true, true,
-                                       false, true, false, true, true,
-                                       false)), (String ((Ascii (true, false,
-                                       false, true, false, true, true,
-                                       false)), (String ((Ascii (false, true,
-                                       true, true, false, true, true,
-                                       false)), (String ((Ascii (true, true,
-                                       true, false, false, true, true,
-                                       false)), (String ((Ascii (false, true,
-                                       true, false, false, false, true,
-                                       false)), (String ((Ascii (true, false,
-                                       false, false, false, true, true,
-                                       false)), (String ((Ascii (true, true,
-                                       false, false, false, true, true,
-                                       false)), (String ((Ascii (false,
-                                       false, true, false, true, true, true,
-                                       false)), (String ((Ascii (true, true,
-                                       true, true, false, true, true,
-                                       false)), (String ((Ascii (false, true,
-                                       false, false, true, true, true,
-                                       false)),
-                                       EmptyString))))))))))))))))))))))))))))
-                                       ((Npos (XI (XO (XO (XO (XI
-                                       XH)))))) :: ((Npos (XO (XO (XO (XO (XI
-                                       XH)))))) :: []))) :: ((mkconst (String
-                                                               ((Ascii
-                                                               (false, true,
-                                                               true, false,
-                                                               false, true,
-                                                               true, false)),
-                                                               (String
-                                                               ((Ascii (true,
-                                                               true, true,
-                                                               true, false,
-                                                               true, true,
-                                                               false)),
-                                                               (String
-                                                               ((Ascii
-                                                               (false, true,
-                                                               false, false,
-                                                               true, true,
-                                                               true, false)),
-                                                               (String
-                                                               ((Ascii (true,
-                                                               false, true,
-                                                               true, false,
-                                                               true, true,
-                                                               false)),
-                                                               (String
-                                                               ((Ascii (true,
-                                                               false, false,
-                                                               false, false,
-                                                               true, true,
-                                                               false)),
-                                                               (String
-                                                               ((Ascii
-                                                               (false, false,
-                                                               true, false,
-                                                               true, true,
-                                                               true, false)),
-                                                               (String
-                                                               ((Ascii (true,
-                                                               true, false,
-                                                               false, false,
-                                                               false, true,
-                                                               false)),
-                                                               (String
-                                                               ((Ascii (true,
-                                                               true, true,
-                                                               true, false,
-                                                               true, true,
-                                                               false)),
-                                                               (String
-                                                               ((Ascii
-                                                               (false, false,
-                                                               true, false,
-                                                               false, true,
-                                                               true, false)),
-                                                               (String
-                                                               ((Ascii (true,
-                                                               false, true,
-                                                               false, false,
-                                                               true, true,
-                                                               false)),
-                                                               EmptyString))))))))))))))))))))
-                                                               ((Npos (XI (XO
-                                                               (XO (XO (XI
-                                                               XH)))))) :: [])) :: (
-    (mkcut (S (S (S (S (S (S (S (S (S (S (S (S (S (S (S (S (S (S (S (S (S (S
-      (S (S (S (S (S (S (S (S (S (S (S (S (S (S (S (S (S (S
-      O)))))))))))))))))))))))))))))))))))))))) (S (S (S (S (S (S (S (S (S (S
-      (S (S (S (S (S (S (S (S (S (S (S (S (S (S (S (S (S (S (S (S (S (S (S (S
-      (S (S (S (S (S (S (S (S (S (S (S (S (S (S (S (S (S (S (S (S (S (S (S (S
-      (S (S (S (S (S
-      O)))))))))))))))))))))))))))))))))))))))))))))))))))))))))))))))
-      (String ((Ascii (true, false, false, true, false, false, true, false)),
-      (String ((Ascii (true, false, true, true, false, true, true, false)),
-      (String ((Ascii (true, false, true, true, false, true, true, false)),
-      (String ((Ascii (true, false, true, false, false, true, true, false)),
-      (String ((Ascii (false, false, true, false, false, true, true, false)),
-      (String ((Ascii (true, false, false, true, false, true, true, false)),
-      (String ((Ascii (true, false, false, false, false, true, true, false)),
-      (String ((Ascii (false, false, true, false, true, true, true, false)),
-      (String ((Ascii (true, false, true, false, false, true, true, false)),
-      (String ((Ascii (false, false, true, false, false, false, true,
-      false)), (String ((Ascii (true, false, true, false, false, true, true,
-      false)), (String ((Ascii (true, true, false, false, true, true, true,
-      false)), (String ((Ascii (false, false, true, false, true, true, true,
-      false)), (String ((Ascii (true, false, false, true, false, true, true,
-      false)), (String ((Ascii (false, true, true, true, false, true, true,
-      false)), (String ((Ascii (true, false, false, false, false, true, true,
-      false)), (String ((Ascii (false, false, true, false, true, true, true,
-      false)), (String ((Ascii (true, false, false, true, false, true, true,
-      false)), (String ((Ascii (true, true, true, true, false, true, true,
-      false)), (String ((Ascii (false, true, true, true, false, true, true,
-      false)), (String ((Ascii (false, true, true, true, false, false, true,
-      false)), (String ((Ascii (true, false, false, false, false, true, true,
-      false)), (String ((Ascii (true, false, true, true, false, true, true,
-      false)), (String ((Ascii (true, false, true, false, false, true, true,
-      false)), EmptyString))))))))))))))))))))))))))))))))))))))))))))))))
-      ((String ((Ascii (false, false, false, false, true, true, true,
-      false)), (String ((Ascii (true, false, false, false, false, true, true,
-      false)), (String ((Ascii (false, true, false, false, true, true, true,
-      false)), (String ((Ascii (true, true, false, false, true, true, true,
-      false)), (String ((Ascii (true, false, true, false, false, true, true,
-      false)), (String ((Ascii (true, true, false, false, true, false, true,
-      false)), (String ((Ascii (false, false, true, false, true, true, true,
-      false)), (String ((Ascii (false, true, false, false, true, true, true,
-      false)), (String ((Ascii (true, false, false, true, false, true, true,
-      false)), (String ((Ascii (false, true, true, true, false, true, true,
-      false)), (String ((Ascii (true, true, true, false, false, true, true,
-      false)), (String ((Ascii (false, true, true, false, false, false, true,
-      false)), (String ((Ascii (true, false, false, true, false, true, true,
-      false)), (String ((Ascii (true, false, true, false, false, true, true,
-      false)), (String ((Ascii (false, false, true, true, false, true, true,
-      false)), (String ((Ascii (false, false, true, false, false, true, true,
-      false)), (String ((Ascii (true, true, true, false, true, false, true,
-      false)), (String ((Ascii (true, false, false, true, false, true, true,
-      false)), (String ((Ascii (false, false, true, false, true, true, true,
-      false)), (String ((Ascii (false, false, false, true, false, true, true,
-      false)), (String ((Ascii (true, true, true, true, false, false, true,
-      false)), (String ((Ascii (false, false, false, false, true, true, true,
-      false)), (String ((Ascii (false, false, true, false, true, true, true,
-      false)), (String ((Ascii (true, true, false, false, true, true, true,
-      false)),
-      EmptyString)))))))))))))))))))))))))))))))))))))))))))))))) :: [])) :: (
-    (mkcut (S (S (S (S (S (S (S (S (S (S (S (S (S (S (S (S (S (S (S (S (S (S
-      (S (S (S (S (S (S (S (S (S (S (S (S (S (S (S (S (S (S (S (S (S (S (S (S
-      (S (S (S (S (S (S (S (S (S (S (S (S (S (S (S (S (S
-      O))))))))))))))))))))))))))))))))))))))))))))))))))))))))))))))) (S (S
-      (S (S (S (S (S (S (S (S (S (S (S (S (S (S (S (S (S (S (S (S (S (S (S (S
-      (S (S (S (S (S (S (S (S (S (S (S (S (S (S (S (S (S (S (S (S (S (S (S (S
-      (S (S (S (S (S (S (S (S (S (S (S (S (S (S (S (S (S (S (S (S (S (S (S (S
-      (S (S (S (S (S (S (S (S (S (S (S (S
-      O))))))))))))))))))))))))))))))))))))))))))))))))))))))))))))))))))))))))))))))))))))))
-      (String ((Ascii (true, false, false, true, false, false, true, false)),
-      (String ((Ascii (true, false, true, true, false, true, true, false)),
-      (String ((Ascii (true, false, true, true, false, true, true, false)),
-      (String ((Ascii (true, false, true, false, false, true, true, false)),
-      (String ((Ascii (false, false, true, false, false, true, true, false)),
-      (String ((Ascii (true, false, false, true, false, true, true, false)),
-      (String ((Ascii (true, false, false, false, false, true, true, false)),
-      (String ((Ascii (false, false, true, false, true, true, true, false)),
-      (String ((Ascii (true, false, true, false, false, true, true, false)),
-      (String ((Ascii (true, true, true, true, false, false, true, false)),
-      (String ((Ascii (false, true, false, false, true, true, true, false)),
-      (String ((Ascii (true, false, false, true, false, true, true, false)),
-      (String ((Ascii (true, true, true, false, false, true, true, false)),
-      (String ((Ascii (true, false, false, true, false, true, true, false)),
-      (String ((Ascii (false, true, true, true, false, true, true, false)),
-      (String ((Ascii (false, true, true, true, false, false, true, false)),
-      (String ((Ascii (true, false, false, false, false, true, true, false)),
-      (String ((Ascii (true, false, true, true, false, true, true, false)),
-      (String ((Ascii (true, false, true, false, false, true, true, false)),
-      EmptyString)))))))))))))))))))))))))))))))))))))) ((String ((Ascii
-      (false, false, false, false, true, true, true, false)), (String ((Ascii
-      (true, false, false, false, false, true, true, false)), (String ((Ascii
-      (false, true, false, false, true, true, true, false)), (String ((Ascii
-      (true, true, false, false, true, true, true, false)), (String ((Ascii
-      (true, false, true, false, false, true, true, false)), (String ((Ascii
-      (true, true, false, false, true, false, true, false)), (String ((Ascii
-      (false, false, true, false, true, true, true, false)), (String ((Ascii
-      (false, true, false, false, true, true, true, false)), (String ((Ascii
-      (true, false, false, true, false, true, true, false)), (String ((Ascii
-      (false, true, true, true, false, true, true, false)), (String ((Ascii
-      (true, true, true, false, false, true, true, false)), (String ((Ascii
-      (false, true, true, false, false, false, true, false)), (String ((Ascii
-      (true, false, false, true, false, true, true, false)), (String ((Ascii
-      (true, false, true, false, false, true, true, false)), (String ((Ascii
-      (false, false, true, true, false, true, true, false)), (String ((Ascii
-      (false, false, true, false, false, true, true, false)), (String ((Ascii
-      (true, true, true, false, true, false, true, false)), (String ((Ascii
-      (true, false, false, true, false, true, true, false)), (String ((Ascii
-      (false, false, true, false, true, true, true, false)), (String ((Ascii
-      (false, false, false, true, false, true, true, false)), (String ((Ascii
-      (true, true, true, true, false, false, true, false)), (String ((Ascii
-      (false, false, false, false, true, true, true, false)), (String ((Ascii
-      (false, false, true, false, true, true, true, false)), (String ((Ascii
-      (true, true, false, false, true, true, true, false)),
-      EmptyString)))))))))))))))))))))))))))))))))))))))))))))))) :: [])) :: (
-    (mkcut (S (S (S (S (S (S (S (S (S (S (S (S (S (S (S (S (S (S (S (S (S (S
-      (S (S (S (S (S (S (S (S (S (S (S (S (S (S (S (S (S (S (S (S (S (S (S (S
-      (S (S (S (S (S (S (S (S (S (S (S (S (S (S (S (S (S (S (S (S (S (S (S (S
-      (S (S (S (S (S (S (S (S (S (S (S (S (S (S (S (S
-      O))))))))))))))))))))))))))))))))))))))))))))))))))))))))))))))))))))))))))))))))))))))
-      (S (S (S (S (S (S (S (S (S (S (S (S (S (S (S (S (S (S (S (S (S (S (S (S
-      (S (S (S (S (S (S (S (S (S (S (S (S (S (S (S (S (S (S (S (S (S (S (S (S
-      (S (S (S (S (S (S (S (S (S (S (S (S (S (S (S (S (S (S (S (S (S (S (S (S
-      (S (S (S (S (S (S (S (S (S (S (S (S (S (S (S (S (S (S (S (S (S (S
-      O))))))))))))))))))))))))))))))))))))))))))))))))))))))))))))))))))))))))))))))))))))))))))))))
-      (String ((Ascii (false, true, false, false, true, false, true, false)),
-      (String ((Ascii (true, false, true, false, false, true, true, false)),
-      (String ((Ascii (false, true, true, false, false, true, true, false)),
-      (String ((Ascii (true, false, true, false, false, true, true, false)),
-      (String ((Ascii (false, true, false, false, true, true, true, false)),
-      (String ((Ascii (true, false, true, false, false, true, true, false)),
-      (String ((Ascii (false, true, true, true, false, true, true, false)),
-      (String ((Ascii (true, true, false, false, false, true, true, false)),
-      (String ((Ascii (true, false, true, false, false, true, true, false)),
-      (String ((Ascii (true, true, false, false, false, false, true, false)),
-      (String ((Ascii (true, true, true, true, false, true, true, false)),
-      (String ((Ascii (false, false, true, false, false, true, true, false)),
-      (String ((Ascii (true, false, true, false, false, true, true, false)),
-      EmptyString)))))))))))))))))))))))))) ((String ((Ascii (false, false,
-      false, false, true, true, true, false)), (String ((Ascii (true, false,
-      false, false, false, true, true, false)), (String ((Ascii (false, true,
-      false, false, true, true, true, false)), (String ((Ascii (true, true,
-      false, false, true, true, true, false)), (String ((Ascii (true, false,
-      true, false, false, true, true, false)), (String ((Ascii (true, true,
-      false, false, true, false, true, false)), (String ((Ascii (false,
-      false, true, false, true, true, true, false)), (String ((Ascii (false,
-      true, false, false, true, true, true, false)), (String ((Ascii (true,
-      false, false, true, false, true, true, false)), (String ((Ascii (false,
-      true, true, true, false, true, true, false)), (String ((Ascii (true,
-      true, true, false, false, true, true, false)), (String ((Ascii (false,
-      true, true, false, false, false, true, false)), (String ((Ascii (true,
-      false, false, true, false, true, true, false)), (String ((Ascii (true,
-      false, true, false, false, true, true, false)), (String ((Ascii (false,
-      false, true, true, false, true, true, false)), (String ((Ascii (false,
-      false, true, false, false, true, true, false)), (String ((Ascii (true,
-      true, true, false, true, false, true, false)), (String ((Ascii (true,
-      false, false, true, false, true, true, false)), (String ((Ascii (false,
-      false, true, false, true, true, true, false)), (String ((Ascii (false,
-      false, false, true, false, true, true, false)), (String ((Ascii (true,
-      true, true, true, false, false, true, false)), (String ((Ascii (false,
-      false, false, false, true, true, true, false)), (String ((Ascii (false,
-      false, true, false, true, true, true, false)), (String ((Ascii (true,
-      true, false, false, true, true, true, false)),
-      EmptyString)))))))))))))))))))))))))))))))))))))))))))))))) :: [])) :: [])))))))))))) }
-
-(** val l_IATBatchHeader : layout **)
-
-let l_IATBatchHeader =
-  { l_name = (String ((Ascii (true, false, false, true, false, false, true,
-    false)), (String ((Ascii (true, false, false, false, false, false, true,
-    false)), (String ((Ascii (false, false, true, false, true, false, true,
-    false)), (String ((Ascii (false, true, false, false, false, false, true,
-    false)), (String ((Ascii (true, false, false, false, false, true, true,
-    false)), (String ((Ascii (false, false, true, false, true, true, true,
-    false)), (String ((Ascii (true, true, false, false, false, true, true,
-    false)), (String ((Ascii (false, false, false, true, false, true, true,
-    false)), (String ((Ascii (false, false, false, true, false, false, true,
-    false)), (String ((Ascii (true, false, true, false, false, true, true,
-    false)), (String ((Ascii (true, false, false, false, false, true, true,
-    false)), (String ((Ascii (false, false, true, false, false, true, true,
-    false)), (String ((Ascii (true, false, true, false, false, true, true,
-    false)), (String ((Ascii (false, true, false, false, true, true, true,
-    false)), EmptyString)))))))))))))))))))))))))))); l_ix = IRune; l_segs =
-    ((SLit ((Npos (XI (XO (XI (XO (XI XH)))))) :: [])) :: ((SItoa (String
-    ((Ascii (true, true, false, false, true, false, true, false)), (String
-    ((Ascii (true, false, true, false, false, true, true, false)), (String
-    ((Ascii (false, true, false, false, true, true, true, false)), (String
-    ((Ascii (false, true, true, false, true, true, true, false)), (String
-    ((Ascii (true, false, false, true, false, true, true, false)), (String
-    ((Ascii (true, true, false, false, false, true, true, false)), (String
-    ((Ascii (true, false, true, false, false, true, true, false)), (String
-    ((Ascii (true, true, false, false, false, false, true, false)), (String
-    ((Ascii (false, false, true, true, false, true, true, false)), (String
-    ((Ascii (true, false, false, false, false, true, true, false)), (String
-    ((Ascii (true, true, false, false, true, true, true, false)), (String
-    ((Ascii (true, true, false, false, true, true, true, false)), (String
-    ((Ascii (true, true, false, false, false, false, true, false)), (String
-    ((Ascii (true, true, true, true, false, true, true, false)), (String
-    ((Ascii (false, false, true, false, false, true, true, false)), (String
-    ((Ascii (true, false, true, false, false, true, true, false)),
-    EmptyString))))))))))))))))))))))))))))))))) :: ((SAlpha ((String ((Ascii
-    (true, false, false, true, false, false, true, false)), (String ((Ascii
-    (true, false, false, false, false, false, true, false)), (String ((Ascii
-    (false, false, true, false, true, false, true, false)), (String ((Ascii
-    (true, false, false, true, false, false, true, false)), (String ((Ascii
-    (false, true, true, true, false, true, true, false)), (String ((Ascii
-    (false, false, true, false, false, true, true, false)), (String ((Ascii
-    (true, false, false, true, false, true, true, false)), (String ((Ascii
-    (true, true, false, false, false, true, true, false)), (String ((Ascii
-    (true, false, false, false, false, true, true, false)), (String ((Ascii
-    (false, false, true, false, true, true, true, false)), (String ((Ascii
-    (true, true, true, true, false, true, true, false)), (String ((Ascii
-    (false, true, false, false, true, true, true, false)),
-    EmptyString)))))))))))))))))))))))), (S (S (S (S (S (S (S (S (S (S (S (S
-    (S (S (S (S O)))))))))))))))))) :: ((SAlpha ((String ((Ascii (false,
-    true, true, false, false, false, true, false)), (String ((Ascii (true,
-    true, true, true, false, true, true, false)), (String ((Ascii (false,
-    true, false, false, true, true, true, false)), (String ((Ascii (true,
-    false, true, false, false, true, true, false)), (String ((Ascii (true,
-    false, false, true, false, true, true, false)), (String ((Ascii (true,
-    true, true, false, false, true, true, false)), (String ((Ascii (false,
-    true, true, true, false, true, true, false)), (String ((Ascii (true,
-    false, true, false, false, false, true, false)), (String ((Ascii (false,
-    false, false, true, true, true, true, false)), (String ((Ascii (true,
-    true, false, false, false, true, true, false)), (String ((Ascii (false,
-    false, false, true, false, true, true, false)), (String ((Ascii (true,
-    false, false, false, false, true, true, false)), (String ((Ascii (false,
-    true, true, true, false, true, true, false)), (String ((Ascii (true,
-    true, true, false, false, true, true, false)), (String ((Ascii (true,
-    false, true, false, false, true, true, false)), (String ((Ascii (true,
-    false, false, true, false, false, true, false)), (String ((Ascii (false,
-    true, true, true, false, true, true, false)), (String ((Ascii (false,
-    false, true, false, false, true, true, false)), (String ((Ascii (true,
-    false, false, true, false, true, true, false)), (String ((Ascii (true,
-    true, false, false, false, true, true, false)), (String ((Ascii (true,
-    false, false, false, false, true, true, false)), (String ((Ascii (false,
-    false, true, false, true, true, true, false)), (String ((Ascii (true,
-    true, true, true, false, true, true, false)), (String ((Ascii (false,
-    true, false, false, true, true, true, false)),
-    EmptyString)))))))))))))))))))))))))))))))))))))))))))))))), (S (S
-    O)))) :: ((SNum ((String ((Ascii (false, true, true, false, false, false,
-    true, false)), (String ((Ascii (true, true, true, true, false, true,
-    true, false)), (String ((Ascii (false, true, false, false, true, true,
-    true, false)), (String ((Ascii (true, false, true, false, false, true,
-    true, false)), (String ((Ascii (true, false, false, true, false, true,
-    true, false)), (String ((Ascii (true, true, true, false, false, true,
-    true, false)), (String ((Ascii (false, true, true, true, false, true,
-    true, false)), (String ((Ascii (true, false, true, false, false, false,
-    true, false)), (String ((Ascii (false, false, false, true, true, true,
-    true, false)), (String ((Ascii (true, true, false, false, false, true,
-    true, false)), (String ((Ascii (false, false, false, true, false, true,
-    true, false)), (String ((Ascii (true, false, false, false, false, true,
-    true, false)), (String ((Ascii (false, true, true, true, false, true,
-    true, false)), (String ((Ascii (true, true, true, false, false, true,
-    true, false)), (String ((Ascii (true, false, true, false, false, true,
-    true, false)), (String ((Ascii (false, true, false, false, true, false,
-    true, false)), (String ((Ascii (true, false, true, false, false, true,
-    true, false)), (String ((Ascii (false, true, true, false, false, true,
-    true, false)), (String ((Ascii (true, false, true, false, false, true,
-    true, false)), (String ((Ascii (false, true, false, false, true, true,
-    true, false)), (String ((Ascii (true, false, true, false, false, true,
-    true, false)), (String ((Ascii (false, true, true, true, false, true,
-    true, false)), (String ((Ascii (true, true, false, false, false, true,
-    true, false)), (String ((Ascii (true, false, true, false, false, true,
-    true, false)), (String ((Ascii (true, false, false, true, false, false,
-    true, false)), (String ((Ascii (false, true, true, true, false, true,
-    true, false)), (String ((Ascii (false, false, true, false, false, true,
-    true, false)), (String ((Ascii (true, false, false, true, false, true,
-    true, false)), (String ((Ascii (true, true, false, false, false, true,
-    true, false)), (String ((Ascii (true, false, false, false, false, true,
-    true, false)), (String ((Ascii (false, false, true, false, true, true,
-    true, false)), (String ((Ascii (true, true, true, true, false, true,
-    true, false)), (String ((Ascii (false, true, false, false, true, true,
-    true, false)),
-    EmptyString)))))))))))))))))))))))))))))))))))))))))))))))))))))))))))))))))),
-    (S O))) :: ((SCustom ((String ((Ascii (true, false, false, true, false,
-    false, true, false)), (String ((Ascii (true, false, false, false, false,
-    false, true, false)), (String ((Ascii (false, false, true, false, true,
-    false, true, false)), (String ((Ascii (false, true, false, false, false,
-    false, true, false)), (String ((Ascii (true, false, false, false, false,
-    true, true, false)), (String ((Ascii (false, false, true, false, true,
-    true, true, false)), (String ((Ascii (true, true, false, false, false,
-    true, true, false)), (String ((Ascii (false, false, false, true, false,
-    true, true, false)), (String ((Ascii (false, false, false, true, false,
-    false, true, false)), (String ((Ascii (true, false, true, false, false,
-    true, true, false)), (String ((Ascii (true, false, false, false, false,
-    true, true, false)), (String ((Ascii (false, false, true, false, false,
-    true, true, false)), (String ((Ascii (true, false, true, false, false,
-    true, true, false)), (String ((Ascii (false, true, false, false, true,
-    true, true, false)), (String ((Ascii (false, true, true, true, false,
-    true, false, false)), (String ((Ascii (false, true, true, false, false,
-    false, true, false)), (String ((Ascii (true, true, true, true, false,
-    true, true, false)), (String ((Ascii (false, true, false, false, true,
-    true, true, false)), (String ((Ascii (true, false, true, false, false,
-    true, true, false)), (String ((Ascii (true, false, false, true, false,
-    true, true, false)), (String ((Ascii (true, true, true, false, false,
-    true, true, false)), (String ((Ascii (false, true, true, true, false,
-    true, true, false)), (String ((Ascii (true, false, true, false, false,
-    false, true, false)), (String ((Ascii (false, false, false, true, true,
-    true, true, false)), (String ((Ascii (true, true, false, false, false,
-    true, true, false)), (String ((Ascii (false, false, false, true, false,
-    true, true, false)), (String ((Ascii (true, false, false, false, false,
-    true, true, false)), (String ((Ascii (false, true, true, true, false,
-    true, true, false)), (String ((Ascii (true, true, true, false, false,
-    true, true, false)), (String ((Ascii (true, false, true, false, false,
-    true, true, false)), (String ((Ascii (false, true, false, false, true,
-    false, true, false)), (String ((Ascii (true, false, true, false, false,
-    true, true, false)), (String ((Ascii (false, true, true, false, false,
-    true, true, false)), (String ((Ascii (true, false, true, false, false,
-    true, true, false)), (String ((Ascii (false, true, false, false, true,
-    true, true, false)), (String ((Ascii (true, false, true, false, false,
-    true, true, false)), (String ((Ascii (false, true, true, true, false,
-    true, true, false)), (String ((Ascii (true, true, false, false, false,
-    true, true, false)), (String ((Ascii (true, false, true, false, false,
-    true, true, false)), (String ((Ascii (false, true, true, false, false,
-    false, true, false)), (String ((Ascii (true, false, false, true, false,
-    true, true, false)), (String ((Ascii (true, false, true, false, false,
-    true, true, false)), (String ((Ascii (false, false, true, true, false,
-    true, true, false)), (String ((Ascii (false, false, true, false, false,
-    true, true, false)),
-    EmptyString)))))))))))))))))))))))))))))))))))))))))))))))))))))))))))))))))))))))))))))))))))))))),
-    (String ((Ascii (true, true, false, false, false, true, true, false)),
-    (String ((Ascii (false, false, true, false, false, true, true, false)),
-    (String ((Ascii (false, false, false, true, true, true, false, false)),
-    (String ((Ascii (false, false, false, true, true, true, false, false)),
-    (String ((Ascii (true, false, false, false, false, true, true, false)),
-    (String ((Ascii (false, false, false, false, true, true, false, false)),
-    (String ((Ascii (false, false, true, false, false, true, true, false)),
-    (String ((Ascii (true, true, true, false, true, true, false, false)),
-    (String ((Ascii (true, false, true, false, true, true, false, false)),
-    (String ((Ascii (true, false, false, false, false, true, true, false)),
-    (String ((Ascii (false, true, true, false, false, true, true, false)),
-    (String ((Ascii (true, false, false, true, true, true, false, false)),
-    EmptyString)))))))))))))))))))))))))) :: ((SAlpha ((String ((Ascii (true,
-    false, false, true, false, false, true, false)), (String ((Ascii (true,
-    true, false, false, true, false, true, false)), (String ((Ascii (true,
-    true, true, true, false, false, true, false)), (String ((Ascii (false,
-    false, true, false, false, false, true, false)), (String ((Ascii (true,
-    false, true, false, false, true, true, false)), (String ((Ascii (true,
-    true, false, false, true, true, true, false)), (String ((Ascii (false,
-    false, true, false, true, true, true, false)), (String ((Ascii (true,
-    false, false, true, false, true, true, false)), (String ((Ascii (false,
-    true, true, true, false, true, true, false)), (String ((Ascii (true,
-    false, false, false, false, true, true, false)), (String ((Ascii (false,
-    false, true, false, true, true, true, false)), (String ((Ascii (true,
-    false, false, true, false, true, true, false)), (String ((Ascii (true,
-    true, true, true, false, true, true, false)), (String ((Ascii (false,
-    true, true, true, false, true, true, false)), (String ((Ascii (true,
-    true, false, false, false, false, true, false)), (String ((Ascii (true,
-    true, true, true, false, true, true, false)), (String ((Ascii (true,
-    false, true, false, true, true, true, false)), (String ((Ascii (false,
-    true, true, true, false, true, true, false)), (String ((Ascii (false,
-    false, true, false, true, true, true, false)), (String ((Ascii (false,
-    true, false, false, true, true, true, false)), (String ((Ascii (true,
-    false, false, true, true, true, true, false)), (String ((Ascii (true,
-    true, false, false, false, false, true, false)), (String ((Ascii (true,
-    true, true, true, false, true, true, false)), (String ((Ascii (false,
-    false, true, false, false, true, true, false)), (String ((Ascii (true,
-    false, true, false, false, true, true, false)),
-    EmptyString)))))))))))))))))))))))))))))))))))))))))))))))))), (S (S
-    O)))) :: ((SAlpha ((String ((Ascii (true, true, true, true, false, false,
-    true, false)), (String ((Ascii (false, true, false, false, true, true,
-    true, false)), (String ((Ascii (true, false, false, true, false, true,
-    true, false)), (String ((Ascii (true, true, true, false, false, true,
-    true, false)), (String ((Ascii (true, false, false, true, false, true,
-    true, false)), (String ((Ascii (false, true, true, true, false, true,
-    true, false)), (String ((Ascii (true, false, false, false, false, true,
-    true, false)), (String ((Ascii (false, false, true, false, true, true,
-    true, false)), (String ((Ascii (true, true, true, true, false, true,
-    true, false)), (String ((Ascii (false, true, false, false, true, true,
-    true, false)), (String ((Ascii (true, false, false, true, false, false,
-    true, false)), (String ((Ascii (false, false, true, false, false, true,
-    true, false)), (String ((Ascii (true, false, true, false, false, true,
-    true, false)), (String ((Ascii (false, true, true, true, false, true,
-    true, false)), (String ((Ascii (false, false, true, false, true, true,
-    true, false)), (String ((Ascii (true, false, false, true, false, true,
-    true, false)), (String ((Ascii (false, true, true, false, false, true,
-    true, false)), (String ((Ascii (true, false, false, true, false, true,
-    true, false)), (String ((Ascii (true, true, false, false, false, true,
-    true, false)), (String ((Ascii (true, false, false, false, false, true,
-    true, false)), (String ((Ascii (false, false, true, false, true, true,
-    true, false)), (String ((Ascii (true, false, false, true, false, true,
-    true, false)), (String ((Ascii (true, true, true, true, false, true,
-    true, false)), (String ((Ascii (false, true, true, true, false, true,
-    true, false)),
-    EmptyString)))))))))))))))))))))))))))))))))))))))))))))))), (S (S (S (S
-    (S (S (S (S (S (S O)))))))))))) :: ((SRaw (String ((Ascii (true, true,
-    false, false, true, false, true, false)), (String ((Ascii (false, false,
-    true, false, true, true, true, false)), (String ((Ascii (true, false,
-    false, false, false, true, true, false)), (String ((Ascii (false, true,
-    true, true, false, true, true, false)), (String ((Ascii (false, false,
-    true, false, false, true, true, false)), (String ((Ascii (true, false,
-    false, false, false, true, true, false)), (String ((Ascii (false, true,
-    false, false, true, true, true, false)), (String ((Ascii (false, false,
-    true, false, false, true, true, false)), (String ((Ascii (true, false,
-    true, false, false, false, true, false)), (String ((Ascii (false, true,
-    true, true, false, true, true, false)), (String ((Ascii (false, false,
-    true, false, true, true, true, false)), (String ((Ascii (false, true,
-    false, false, true, true, true, false)), (String ((Ascii (true, false,
-    false, true, true, true, true, false)), (String ((Ascii (true, true,
-    false, false, false, false, true, false)), (String ((Ascii (false, false,
-    true, true, false, true, true, false)), (String ((Ascii (true, false,
-    false, false, false, true, true, false)), (String ((Ascii (true, true,
-    false, false, true, true, true, false)), (String ((Ascii (true, true,
-    false, false, true, true, true, false)), (String ((Ascii (true, true,
-    false, false, false, false, true, false)), (String ((Ascii (true, true,
-    true, true, false, true, true, false)), (String ((Ascii (false, false,
-    true, false, false, true, true, false)), (String ((Ascii (true, false,
-    true, false, false, true, true, false)),
-    EmptyString))))))))))))))))))))))))))))))))))))))))))))) :: ((SAlpha
-    ((String ((Ascii (true, true, false, false, false, false, true, false)),
-    (String ((Ascii (true, true, true, true, false, true, true, false)),
-    (String ((Ascii (true, false, true, true, false, true, true, false)),
-    (String ((Ascii (false, false, false, false, true, true, true, false)),
-    (String ((Ascii (true, false, false, false, false, true, true, false)),
-    (String ((Ascii (false, true, true, true, false, true, true, false)),
-    (String ((Ascii (true, false, false, true, true, true, true, false)),
-    (String ((Ascii (true, false, true, false, false, false, true, false)),
-    (String ((Ascii (false, true, true, true, false, true, true, false)),
-    (String ((Ascii (false, false, true, false, true, true, true, false)),
-    (String ((Ascii (false, true, false, false, true, true, true, false)),
-    (String ((Ascii (true, false, false, true, true, true, true, false)),
-    (String ((Ascii (false, false, true, false, false, false, true, false)),
-    (String ((Ascii (true, false, true, false, false, true, true, false)),
-    (String ((Ascii (true, true, false, false, true, true, true, false)),
-    (String ((Ascii (true, true, false, false, false, true, true, false)),
-    (String ((Ascii (false, true, false, false, true, true, true, false)),
-    (String ((Ascii (true, false, false, true, false, true, true, false)),
-    (String ((Ascii (false, false, false, false, true, true, true, false)),
-    (String ((Ascii (false, false, true, false, true, true, true, false)),
-    (String ((Ascii (true, false, false, true, false, true, true, false)),
-    (String ((Ascii (true, true, true, true, false, true, true, false)),
-    (String ((Ascii (false, true, true, true, false, true, true, false)),
-    EmptyString)))))))))))))))))))))))))))))))))))))))))))))), (S (S (S (S (S
-    (S (S (S (S (S O)))))))))))) :: ((SAlpha ((String ((Ascii (true, false,
-    false, true, false, false, true, false)), (String ((Ascii (true, true,
-    false, false, true, false, true, false)), (String ((Ascii (true, true,
-    true, true, false, false, true, false)), (String ((Ascii (true, true,
-    true, true, false, false, true, false)), (String ((Ascii (false, true,
-    false, false, true, true, true, false)), (String ((Ascii (true, false,
-    false, true, false, true, true, false)), (String ((Ascii (true, true,
-    true, false, false, true, true, false)), (String ((Ascii (true, false,
-    false, true, false, true, true, false)), (String ((Ascii (false, true,
-    true, true, false, true, true, false)), (String ((Ascii (true, false,
-    false, false, false, true, true, false)), (String ((Ascii (false, false,
-    true, false, true, true, true, false)), (String ((Ascii (true, false,
-    false, true, false, true, true, false)), (String ((Ascii (false, true,
-    true, true, false, true, true, false)), (String ((Ascii (true, true,
-    true, false, false, true, true, false)), (String ((Ascii (true, true,
-    false, false, false, false, true, false)), (String ((Ascii (true, false,
-    true, false, true, true, true, false)), (String ((Ascii (false, true,
-    false, false, true, true, true, false)), (String ((Ascii (false, true,
-    false, false, true, true, true, false)), (String ((Ascii (true, false,
-    true, false, false, true, true, false)), (String ((Ascii (false, true,
-    true, true, false, true, true, false)), (String ((Ascii (true, true,
-    false, false, false, true, true, false)), (String ((Ascii (true, false,
-    false, true, true, true, true, false)), (String ((Ascii (true, true,
-    false, false, false, false, true, false)), (String ((Ascii (true, true,
-    true, true, false, true, true, false)), (String ((Ascii (false, false,
-    true, false, false, true, true, false)), (String ((Ascii (true, false,
-    true, false, false, true, true, false)),
-    EmptyString)))))))))))))))))))))))))))))))))))))))))))))))))))), (S (S (S
-    O))))) :: ((SAlpha ((String ((Ascii (true, false, false, true, false,
-    false, true, false)), (String ((Ascii (true, true, false, false, true,
-    false, true, false)), (String ((Ascii (true, true, true, true, false,
-    false, true, false)), (String ((Ascii (false, false, true, false, false,
-    false, true, false)), (String ((Ascii (true, false, true, false, false,
-    true, true, false)), (String ((Ascii (true, true, false, false, true,
-    true, true, false)), (String ((Ascii (false, false, true, false, true,
-    true, true, false)), (String ((Ascii (true, false, false, true, false,
-    true, true, false)), (String ((Ascii (false, true, true, true, false,
-    true, true, false)), (String ((Ascii (true, false, false, false, false,
-    true, true, false)), (String ((Ascii (false, false, true, false, true,
-    true, true, false)), (String ((Ascii (true, false, false, true, false,
-    true, true, false)), (String ((Ascii (true, true, true, true, false,
-    true, true, false)), (String ((Ascii (false, true, true, true, false,
-    true, true, false)), (String ((Ascii (true, true, false, false, false,
-    false, true, false)), (String ((Ascii (true, false, true, false, true,
-    true, true, false)), (String ((Ascii (false, true, false, false, true,
-    true, true, false)), (String ((Ascii (false, true, false, false, true,
-    true, true, false)), (String ((Ascii (true, false, true, false, false,
-    true, true, false)), (String ((Ascii (false, true, true, true, false,
-    true, true, false)), (String ((Ascii (true, true, false, false, false,
-    true, true, false)), (String ((Ascii (true, false, false, true, true,
-    true, true, false)), (String ((Ascii (true, true, false, false, false,
-    false, true, false)), (String ((Ascii (true, true, true, true, false,
-    true, true, false)), (String ((Ascii (false, false, true, false, false,
-    true, true, false)), (String ((Ascii (true, false, true, false, false,
-    true, true, false)),
-    EmptyString)))))))))))))))))))))))))))))))))))))))))))))))))))), (S (S (S
-    O))))) :: ((SStr ((String ((Ascii (true, false, true, false, false,
-    false, true, false)), (String ((Ascii (false, true, true, false, false,
-    true, true, false)), (String ((Ascii (false, true, true, false, false,
-    true, true, false)), (String ((Ascii (true, false, true, false, false,
-    true, true, false)), (String ((Ascii (true, true, false, false, false,
-    true, true, false)), (String ((Ascii (false, false, true, false, true,
-    true, true, false)), (String ((Ascii (true, false, false, true, false,
-    true, true, false)), (String ((Ascii (false, true, true, false, true,
-    true, true, false)), (String ((Ascii (true, false, true, false, false,
-    true, true, false)), (String ((Ascii (true, false, true, false, false,
-    false, true, false)), (String ((Ascii (false, true, true, true, false,
-    true, true, false)), (String ((Ascii (false, false, true, false, true,
-    true, true, false)), (String ((Ascii (false, true, false, false, true,
-    true, true, false)), (String ((Ascii (true, false, false, true, true,
-    true, true, false)), (String ((Ascii (false, false, true, false, false,
-    false, true, false)), (String ((Ascii (true, false, false, false, false,
-    true, true, false)), (String ((Ascii (false, false, true, false, true,
-    true, true, false)), (String ((Ascii (true, false, true, false, false,
-    true, true, false)), EmptyString)))))))))))))))))))))))))))))))))))), (S
-    (S (S (S (S (S O)))))))) :: ((SAlpha ((String ((Ascii (true, true, false,
-    false, true, false, true, false)), (String ((Ascii (true, false, true,
-    false, false, true, true, false)), (String ((Ascii (false, false, true,
-    false, true, true, true, false)), (String ((Ascii (false, false, true,
-    false, true, true, true, false)), (String ((Ascii (false, false, true,
-    true, false, true, true, false)), (String ((Ascii (true, false, true,
-    false, false, true, true, false)), (String ((Ascii (true, false, true,
-    true, false, true, true, false)), (String ((Ascii (true, false, true,
-    false, false, true, true, false)), (String ((Ascii (false, true, true,
-    true, false, true, true, false)), (String ((Ascii (false, false, true,
-    false, true, true, true, false)), (String ((Ascii (false, false, true,
-    false, false, false, true, false)), (String ((Ascii (true, false, false,
-    false, false, true, true, false)), (String ((Ascii (false, false, true,
-    false, true, true, true, false)), (String ((Ascii (true, false, true,
-    false, false, true, true, false)),
-    EmptyString)))))))))))))))))))))))))))), (S (S (S O))))) :: ((SItoa
-    (String ((Ascii (true, true, true, true, false, false, true, false)),
-    (String ((Ascii (false, true, false, false, true, true, true, false)),
-    (String ((Ascii (true, false, false, true, false, true, true, false)),
-    (String ((Ascii (true, true, true, false, false, true, true, false)),
-    (String ((Ascii (true, false, false, true, false, true, true, false)),
-    (String ((Ascii (false, true, true, true, false, true, true, false)),
-    (String ((Ascii (true, false, false, false, false, true, true, false)),
-    (String ((Ascii (false, false, true, false, true, true, true, false)),
-    (String ((Ascii (true, true, true, true, false, true, true, false)),
-    (String ((Ascii (false, true, false, false, true, true, true, false)),
-    (String ((Ascii (true, true, false, false, true, false, true, false)),
-    (String ((Ascii (false, false, true, false, true, true, true, false)),
-    (String ((Ascii (true, false, false, false, false, true, true, false)),
-    (String ((Ascii (false, false, true, false, true, true, true, false)),
-    (String ((Ascii (true, false, true, false, true, true, true, false)),
-    (String ((Ascii (true, true, false, false, true, true, true, false)),
-    (String ((Ascii (true, true, false, false, false, false, true, false)),
-    (String ((Ascii (true, true, true, true, false, true, true, false)),
-    (String ((Ascii (false, false, true, false, false, true, true, false)),
-    (String ((Ascii (true, false, true, false, false, true, true, false)),
-    EmptyString))))))))))))))))))))))))))))))))))))))))) :: ((SStr ((String
-    ((Ascii (true, true, true, true, false, false, true, false)), (String
-    ((Ascii (false, false, true, false, false, false, true, false)), (String
-    ((Ascii (false, true, true, false, false, false, true, false)), (String
-    ((Ascii (true, false, false, true, false, false, true, false)), (String
-    ((Ascii (true, false, false, true, false, false, true, false)), (String
-    ((Ascii (false, false, true, false, false, true, true, false)), (String
-    ((Ascii (true, false, true, false, false, true, true, false)), (String
-    ((Ascii (false, true, true, true, false, true, true, false)), (String
-    ((Ascii (false, false, true, false, true, true, true, false)), (String
-    ((Ascii (true, false, false, true, false, true, true, false)), (String
-    ((Ascii (false, true, true, false, false, true, true, false)), (String
-    ((Ascii (true, false, false, true, false, true, true, false)), (String
-    ((Ascii (true, true, false, false, false, true, true, false)), (String
-    ((Ascii (true, false, false, false, false, true, true, false)), (String
-    ((Ascii (false, false, true, false, true, true, true, false)), (String
-    ((Ascii (true, false, false, true, false, true, true, false)), (String
-    ((Ascii (true, true, true, true, false, true, true, false)), (String
-    ((Ascii (false, true, true, true, false, true, true, false)),
-    EmptyString)))))))))))))))))))))))))))))))))))), (S (S (S (S (S (S (S (S
-    O)))))))))) :: ((SNum ((String ((Ascii (false, true, false, false, false,
-    false, true, false)), (String ((Ascii (true, false, false, false, false,
-    true, true, false)), (String ((Ascii (false, false, true, false, true,
-    true, true, false)), (String ((Ascii (true, true, false, false, false,
-    true, true, false)), (String ((Ascii (false, false, false, true, false,
-    true, true, false)), (String ((Ascii (false, true, true, true, false,
-    false, true, false)), (String ((Ascii (true, false, true, false, true,
-    true, true, false)), (String ((Ascii (true, false, true, true, false,
-    true, true, false)), (String ((Ascii (false, true, false, false, false,
-    true, true, false)), (String ((Ascii (true, false, true, false, false,
-    true, true, false)), (String ((Ascii (false, true, false, false, true,
-    true, true, false)), EmptyString)))))))))))))))))))))), (S (S (S (S (S (S
-    (S O))))))))) :: []))))))))))))))))); l_cuts =
-    ((mkcut O (S O) EmptyString []) :: ((mkcut (S O) (S (S (S (S O))))
-                                          (String ((Ascii (true, true, false,
-                                          false, true, false, true, false)),
-                                          (String ((Ascii (true, false, true,
-                                          false, false, true, true, false)),
-                                          (String ((Ascii (false, true,
-                                          false, false, true, true, true,
-                                          false)), (String ((Ascii (false,
-                                          true, true, false, true, true,
-                                          true, false)), (String ((Ascii
-                                          (true, false, false, true, false,
-                                          true, true, false)), (String
-                                          ((Ascii (true, true, false, false,
-                                          false, true, true, false)), (String
-                                          ((Ascii (true, false, true, false,
-                                          false, true, true, false)), (String
-                                          ((Ascii (true, true, false, false,
-                                          false, false, true, false)),
-                                          (String ((Ascii (false, false,
-                                          true, true, false, true, true,
-                                          false)), (String ((Ascii (true,
-                                          false, false, false, false, true,
-                                          true, false)), (String ((Ascii
-                                          (true, true, false, false, true,
-                                          true, true, false)), (String
-                                          ((Ascii (true, true, false, false,
-                                          true, true, true, false)), (String
-                                          ((Ascii (true, true, false, false,
-                                          false, false, true, false)),
-                                          (String ((Ascii (true, true, true,
-                                          true, false, true, true, false)),
-                                          (String ((Ascii (false, false,
-                                          true, false, false, true, true,
-                                          false)), (String ((Ascii (true,
-                                          false, true, false, false, true,
-                                          true, false)),
-                                          EmptyString))))))))))))))))))))))))))))))))
-                                          ((String ((Ascii (false, false,
-                                          false, false, true, true, true,
-                                          false)), (String ((Ascii (true,
-                                          false, false, false, false, true,
-                                          true, false)), (String ((Ascii
-                                          (false, true, false, false, true,
-                                          true, true, false)), (String
-                                          ((Ascii (true, true, false, false,
-                                          true, true, true, false)), (String
-                                          ((Ascii (true, false, true, false,
-                                          false, true, true, false)), (String
-                                          ((Ascii (false, true, true, true,
-                                          false, false, true, false)),
-                                          (String ((Ascii (true, false, true,
-                                          false, true, true, true, false)),
-                                          (String ((Ascii (true, false, true,
-                                          true, false, true, true, false)),
-                                          (String ((Ascii (false, true, true,
-                                          false, false, false, true, false)),
-                                          (String ((Ascii (true, false,
-                                          false, true, false, true, true,
-                                          false)), (String ((Ascii (true,
-                                          false, true, false, false, true,
-                                          true, false)), (String ((Ascii
-                                          (false, false, true, true, false,
-                                          true, true, false)), (String
-                                          ((Ascii (false, false, true, false,
-                                          false, true, true, false)),
-                                          EmptyString)))))))))))))))))))))))))) :: [])) :: (
-    (mkcut (S (S (S (S O)))) (S (S (S (S (S (S (S (S (S (S (S (S (S (S (S (S
-      (S (S (S (S O)))))))))))))))))))) (String ((Ascii (true, false, false,
-      true, false, false, true, false)), (String ((Ascii (true, false, false,
-      false, false, false, true, false)), (String ((Ascii (false, false,
-      true, false, true, false, true, false)), (String ((Ascii (true, false,
-      false, true, false, false, true, false)), (String ((Ascii (false, true,
-      true, true, false, true, true, false)), (String ((Ascii (false, false,
-      true, false, false, true, true, false)), (String ((Ascii (true, false,
-      false, true, false, true, true, false)), (String ((Ascii (true, true,
-      false, false, false, true, true, false)), (String ((Ascii (true, false,
-      false, false, false, true, true, false)), (String ((Ascii (false,
-      false, true, false, true, true, true, false)), (String ((Ascii (true,
-      true, true, true, false, true, true, false)), (String ((Ascii (false,
-      true, false, false, true, true, true, false)),
-      EmptyString)))))))))))))))))))))))) ((String ((Ascii (false, false,
-      false, false, true, true, true, false)), (String ((Ascii (true, false,
-      false, false, false, true, true, false)), (String ((Ascii (false, true,
-      false, false, true, true, true, false)), (String ((Ascii (true, true,
-      false, false, true, true, true, false)), (String ((Ascii (true, false,
-      true, false, false, true, true, false)), (String ((Ascii (true, true,
-      false, false, true, false, true, false)), (String ((Ascii (false,
-      false, true, false, true, true, true, false)), (String ((Ascii (false,
-      true, false, false, true, true, true, false)), (String ((Ascii (true,
-      false, false, true, false, true, true, false)), (String ((Ascii (false,
-      true, true, true, false, true, true, false)), (String ((Ascii (true,
-      true, true, false, false, true, true, false)), (String ((Ascii (false,
-      true, true, false, false, false, true, false)), (String ((Ascii (true,
-      false, false, true, false, true, true, false)), (String ((Ascii (true,
-      false, true, false, false, true, true, false)), (String ((Ascii (false,
-      false, true, true, false, true, true, false)), (String ((Ascii (false,
-      false, true, false, false, true, true, false)),
-      EmptyString)))))))))))))))))))))))))))))))) :: [])) :: ((mkcut (S (S (S
-                                                                (S (S (S (S
-                                                                (S (S (S (S
-                                                                (S (S (S (S
-                                                                (S (S (S (S
-                                                                (S
-                                                                O))))))))))))))))))))
-                                                                (S (S (S (S
-                                                                (S (S (S (S
-                                                                (S (S (S (S
-                                                                (S (S (S (S
-                                                                (S (S (S (S
-                                                                (S (S
-                                                                O))))))))))))))))))))))
-                                                                (String
-                                                                ((Ascii
-                                                                (false, true,
-                                                                true, false,
-                                                                false, false,
-                                                                true,
-                                                                false)),
-                                                                (String
-                                                                ((Ascii
-                                                                (true, true,
-                                                                true, true,
-                                                                false, true,
-                                                                true,
-                                                                false)),
-                                                                (String
-                                                                ((Ascii
-                                                                (false, true,
-                                                                false, false,
-                                                                true, true,
-                                                                true,
-                                                                false)),
-                                                                (String
-                                                                ((Ascii
-                                                                (true, false,
-                                                                true, false,
-                                                                false, true,
-                                                                true,
-                                                                false)),
-                                                                (String
-                                                                ((Ascii
-                                                                (true, false,
-                                                                false, true,
-                                                                false, true,
-                                                                true,
-                                                                false)),
-                                                                (String
-                                                                ((Ascii
-                                                                (true, true,
-                                                                true, false,
-                                                                false, true,
-                                                                true,
-                                                                false)),
-                                                                (String
-                                                                ((Ascii
-                                                                (false, true,
-                                                                true, true,
-                                                                false, true,
-                                                                true,
-                                                                false)),
-                                                                (String
-                                                                ((Ascii
-                                                                (true, false,
-                                                                true, false,
-                                                                false, false,
-                                                                true,
-                                                                false)),
-                                                                (String
-                                                                ((Ascii
-                                                                (false,
-                                                                false, false,
-                                                                true, true,
-                                                                true, true,
-                                                                false)),
-                                                                (String
-                                                                ((Ascii
-                                                                (true, true,
-                                                                false, false,
-                                                                false, true,
-                                                                true,
-                                                                false)),
-                                                                (String
-                                                                ((Ascii
-                                                                (false,
-                                                                false, false,
-                                                                true, false,
-                                                                true, true,
-                                                                false)),
-                                                                (String
-                                                                ((Ascii
-                                                                (true, false,
-                                                                false, false,
-                                                                false, true,
-                                                                true,
-                                                                false)),
-                                                                (String
-                                                                ((Ascii
-                                                                (false, true,
-                                                                true, true,
-                                                                false, true,
-                                                                true,
-                                                                false)),
-                                                                (String
-                                                                ((Ascii
-                                                                (true, true,
-                                                                true, false,
-                                                                false, true,
-                                                                true,
-                                                                false)),
-                                                                (String
-                                                                ((Ascii
-                                                                (true, false,
-                                                                true, false,
-                                                                false, true,
-                                                                true,
-                                                                false)),
-                                                                (String
-                                                                ((Ascii
-                                                                (true, false,
-                                                                false, true,
-                                                                false, false,
-                                                                true,
-                                                                false)),
-                                                                (String
-                                                                ((Ascii
-                                                                (false, true,
-                                                                true, true,
-                                                                false, true,
-                                                                true,
-                                                                false)),
-                                                                (String
-                                                                ((Ascii
-                                                                (false,
-                                                                false, true,
-                                                                false, false,
-                                                                true, true,
-                                                                false)),
-                                                                (String
-                                                                ((Ascii
-                                                                (true, false,
-                                                                false, true,
-                                                                false, true,
-                                                                true,
-                                                                false)),
-                                                                (String
-                                                                ((Ascii
-                                                                (true, true,
-                                                                false, false,
-                                                                false, true,
-                                                                true,
-                                                                false)),
-                                                                (String
-                                                                ((Ascii
-                                                                (true, false,
-                                                                false, false,
-                                                                false, true,
-                                                                true,
-                                                                false)),
-                                                                (String
-                                                                ((Ascii
-                                                                (false,
-                                                                false, true,
-                                                                false, true,
-                                                                true, true,
-                                                                false)),
-                                                                (String
-                                                                ((Ascii
-                                                                (true, true,
-                                                                true, true,
-                                                                false, true,
-                                                                true,
-                                                                false)),
-                                                                (String
-                                                                ((Ascii
-                                                                (false, true,
-                                                                false, false,
-                                                                true, true,
-                                                                true,
-                                                                false)),
-                                                                EmptyString))))))))))))))))))))))))))))))))))))))))))))))))
-                                                                ((String
-                                                                ((Ascii
-                                                                (false,
-                                                                false, false,
-                                                                false, true,
-                                                                true, true,
-                                                                false)),
-                                                                (String
-                                                                ((Ascii
-                                                                (true, false,
-                                                                false, false,
-                                                                false, true,
-                                                                true,
-                                                                false)),
-                                                                (String
-                                                                ((Ascii
-                                                                (false, true,
-                                                                false, false,
-                                                                true, true,
-                                                                true,
-                                                                false)),
-                                                                (String
-                                                                ((Ascii
-                                                                (true, true,
-                                                                false, false,
-                                                                true, true,
-                                                                true,
-                                                                false)),
-                                                                (String
-                                                                ((Ascii
-                                                                (true, false,
-                                                                true, false,
-                                                                false, true,
-                                                                true,
-                                                                false)),
-                                                                (String
-                                                                ((Ascii
-                                                                (true, true,
-                                                                false, false,
-                                                                true, false,
-                                                                true,
-                                                                false)),
-                                                                (String
-                                                                ((Ascii
-                                                                (false,
-                                                                false, true,
-                                                                false, true,
-                                                                true, true,
-                                                                false)),
-                                                                (String
-                                                                ((Ascii
-                                                                (false, true,
-                                                                false, false,
-                                                                true, true,
-                                                                true,
-                                                                false)),
-                                                                (String
-                                                                ((Ascii
-                                                                (true, false,
-                                                                false, true,
-                                                                false, true,
-                                                                true,
-                                                                false)),
-                                                                (String
-                                                                ((Ascii
-                                                                (false, true,
-                                                                true, true,
-                                                                false, true,
-                                                                true,
-                                                                false)),
-                                                                (String
-                                                                ((Ascii
-                                                                (true, true,
-                                                                true, false,
-                                                                false, true,
-                                                                true,
-                                                                false)),
-                                                                (String
-                                                                ((Ascii
-                                                                (false, true,
-                                                                true, false,
-                                                                false, false,
-                                                                true,
-                                                                false)),
-                                                                (String
-                                                                ((Ascii
-                                                                (true, false,
-                                                                false, true,
-                                                                false, true,
-                                                                true,
-                                                                false)),
-                                                                (String
-                                                                ((Ascii
-                                                                (true, false,
-                                                                true, false,
-                                                                false, true,
-                                                                true,
-                                                                false)),
-                                                                (String
-                                                                ((Ascii
-                                                                (false,
-                                                                false, true,
-                                                                true, false,
-                                                                true, true,
-                                                                false)),
-                                                                (String
-                                                                ((Ascii
-                                                                (false,
-                                                                false, true,
-                                                                false, false,
-                                                                true, true,
-                                                                false)),
-                                                                EmptyString)))))))))))))))))))))))))))))))) :: [])) :: (
-    (mkcut (S (S (S (S (S (S (S (S (S (S (S (S (S (S (S (S (S (S (S (S (S (S
-      O)))))))))))))))))))))) (S (S (S (S (S (S (S (S (S (S (S (S (S (S (S (S
-      (S (S (S (S (S (S (S O))))))))))))))))))))))) (String ((Ascii (false,
-      true, true, false, false, false, true, false)), (String ((Ascii (true,
-      true, true, true, false, true, true, false)), (String ((Ascii (false,
-      true, false, false, true, true, true, false)), (String ((Ascii (true,
-      false, true, false, false, true, true, false)), (String ((Ascii (true,
-      false, false, true, false, true, true, false)), (String ((Ascii (true,
-      true, true, false, false, true, true, false)), (String ((Ascii (false,
-      true, true, true, false, true, true, false)), (String ((Ascii (true,
-      false, true, false, false, false, true, false)), (String ((Ascii
-      (false, false, false, true, true, true, true, false)), (String ((Ascii
-      (true, true, false, false, false, true, true, false)), (String ((Ascii
-      (false, false, false, true, false, true, true, false)), (String ((Ascii
-      (true, false, false, false, false, true, true, false)), (String ((Ascii
-      (false, true, true, true, false, true, true, false)), (String ((Ascii
-      (true, true, true, false, false, true, true, false)), (String ((Ascii
-      (true, false, true, false, false, true, true, false)), (String ((Ascii
-      (false, true, false, false, true, false, true, false)), (String ((Ascii
-      (true, false, true, false, false, true, true, false)), (String ((Ascii
-      (false, true, true, false, false, true, true, false)), (String ((Ascii
-      (true, false, true, false, false, true, true, false)), (String ((Ascii
-      (false, true, false, false, true, true, true, false)), (String ((Ascii
-      (true, false, true, false, false, true, true, false)), (String ((Ascii
-      (false, true, true, true, false, true, true, false)), (String ((Ascii
-      (true, true, false, false, false, true, true, false)), (String ((Ascii
-      (true, false, true, false, false, true, true, false)), (String ((Ascii
-      (true, false, false, true, false, false, true, false)), (String ((Ascii
-      (false, true, true, true, false, true, true, false)), (String ((Ascii
-      (false, false, true, false, false, true, true, false)), (String ((Ascii
-      (true, false, false, true, false, true, true, false)), (String ((Ascii
-      (true, true, false, false, false, true, true, false)), (String ((Ascii
-      (true, false, false, false, false, true, true, false)), (String ((Ascii
-      (false, false, true, false, true, true, true, false)), (String ((Ascii
-      (true, true, true, true, false, true, true, false)), (String ((Ascii
-      (false, true, false, false, true, true, true, false)),
-      EmptyString))))))))))))))))))))))))))))))))))))))))))))))))))))))))))))))))))
-      ((String ((Ascii (false, false, false, false, true, true, true,
-      false)), (String ((Ascii (true, false, false, false, false, true, true,
-      false)), (String ((Ascii (false, true, false, false, true, true, true,
-      false)), (String ((Ascii (true, true, false, false, true, true, true,
-      false)), (String ((Ascii (true, false, true, false, false, true, true,
-      false)), (String ((Ascii (false, true, true, true, false, false, true,
-      false)), (String ((Ascii (true, false, true, false, true, true, true,
-      false)), (String ((Ascii (true, false, true, true, false, true, true,
-      false)), (String ((Ascii (false, true, true, false, false, false, true,
-      false)), (String ((Ascii (true, false, false, true, false, true, true,
-      false)), (String ((Ascii (true, false, true, false, false, true, true,
-      false)), (String ((Ascii (false, false, true, true, false, true, true,
-      false)), (String ((Ascii (false, false, true, false, false, true, true,
-      false)), EmptyString)))))))))))))))))))))))))) :: [])) :: ((mkcut (S (S
-                                                                   (S (S (S
-                                                                   (S (S (S
-                                                                   (S (S (S
-                                                                   (S (S (S
-                                                                   (S (S (S
-                                                                   (S (S (S
-                                                                   (S (S (S
-                                                                   O)))))))))))))))))))))))
-                                                                   (S (S (S
-                                                                   (S (S (S
-                                                                   (S (S (S
-                                                                   (S (S (S
-                                                                   (S (S (S
-                                                                   (S (S (S
-                                                                   (S (S (S
-                                                                   (S (S (S
-                                                                   (S (S (S
-                                                                   (S (S (S
-                                                                   (S (S (S
-                                                                   (S (S (S
-                                                                   (S (S
-                                                                   O))))))))))))))))))))))))))))))))))))))
-                                                                   (String
-                                                                   ((Ascii
-                                                                   (false,
-                                                                   true,
-                                                                   true,
-                                                                   false,
-                                                                   false,
-                                                                   false,
-                                                                   true,
-                                                                   false)),
-                                                                   (String
-                                                                   ((Ascii
-                                                                   (true,
-                                                                   true,
-                                                                   true,
-                                                                   true,
-                                                                   false,
-                                                                   true,
-                                                                   true,
-                                                                   false)),
-                                                                   (String
-                                                                   ((Ascii
-                                                                   (false,
-                                                                   true,
-                                                                   false,
-                                                                   false,
-                                                                   true,
-                                                                   true,
-                                                                   true,
-                                                                   false)),
-                                                                   (String
-                                                                   ((Ascii
-                                                                   (true,
-                                                                   false,
-                                                                   true,
-                                                                   false,
-                                                                   false,
-                                                                   true,
-                                                                   true,
-                                                                   false)),
-                                                                   (String
-                                                                   ((Ascii
-                                                                   (true,
-                                                                   false,
-                                                                   false,
-                                                                   true,
-                                                                   false,
-                                                                   true,
-                                                                   true,
-                                                                   false)),
-                                                                   (String
-                                                                   ((Ascii
-                                                                   (true,
-                                                                   true,
-                                                                   true,
-                                                                   false,
-                                                                   false,
-                                                                   true,
-                                                                   true,
-                                                                   false)),
-                                                                   (String
-                                                                   ((Ascii
-                                                                   (false,
-                                                                   true,
-                                                                   true,
-                                                                   true,
-                                                                   false,
-                                                                   true,
-                                                                   true,
-                                                                   false)),
-                                                                   (String
-                                                                   ((Ascii
-                                                                   (true,
-                                                                   false,
-                                                                   true,
-                                                                   false,
-                                                                   false,
-                                                                   false,
-                                                                   true,
-                                                                   false)),
-                                                                   (String
-                                                                   ((Ascii
-                                                                   (false,
-                                                                   false,
-                                                                   false,
-                                                                   true,
-                                                                   true,
-                                                                   true,
-                                                                   true,
-                                                                   false)),
-                                                                   (String
-                                                                   ((Ascii
-                                                                   (true,
-                                                                   true,
-                                                                   false,
-                                                                   false,
-                                                                   false,
-                                                                   true,
-                                                                   true,
-                                                                   false)),
-                                                                   (String
-                                                                   ((Ascii
-                                                                   (false,
-                                                                   false,
-                                                                   false,
-                                                                   true,
-                                                                   false,
-                                                                   true,
-                                                                   true,
-                                                                   false)),
-                                                                   (String
-                                                                   ((Ascii
-                                                                   (true,
-                                                                   false,
-                                                                   false,
-                                                                   false,
-                                                                   false,
-                                                                   true,
-                                                                   true,
-                                                                   false)),
-                                                                   (String
-                                                                   ((Ascii
-                                                                   (false,
-                                                                   true,
-                                                                   true,
-                                                                   true,
-                                                                   false,
-                                                                   true,
-                                                                   true,
-                                                                   false)),
-                                                                   (String
-                                                                   ((Ascii
-                                                                   (true,
-                                                                   true,
-                                                                   true,
-                                                                   false,
-                                                                   false,
-                                                                   true,
-                                                                   true,
-                                                                   false)),
-                                                                   (String
-                                                                   ((Ascii
-                                                                   (true,
-                                                                   false,
-                                                                   true,
-                                                                   false,
-                                                                   false,
-                                                                   true,
-                                                                   true,
-                                                                   false)),
-                                                                   (String
-                                                                   ((Ascii
-                                                                   (false,
-                                                                   true,
-                                                                   false,
-                                                                   false,
-                                                                   true,
-                                                                   false,
-                                                                   true,
-                                                                   false)),
-                                                                   (String
-                                                                   ((Ascii
-                                                                   (true,
-                                                                   false,
-                                                                   true,
-                                                                   false,
-                                                                   false,
-                                                                   true,
-                                                                   true,
-                                                                   false)),
-                                                                   (String
-                                                                   ((Ascii
-                                                                   (false,
-                                                                   true,
-                                                                   true,
-                                                                   false,
-                                                                   false,
-                                                                   true,
-                                                                   true,
-                                                                   false)),
-                                                                   (String
-                                                                   ((Ascii
-                                                                   (true,
-                                                                   false,
-                                                                   true,
-                                                                   false,
-                                                                   false,
-                                                                   true,
-                                                                   true,
-                                                                   false)),
-                                                                   (String
-                                                                   ((Ascii
-                                                                   (false,
-                                                                   true,
-                                                                   false,
-                                                                   false,
-                                                                   true,
-                                                                   true,
-                                                                   true,
-                                                                   false)),
-                                                                   (String
-                                                                   ((Ascii
-                                                                   (true,
-                                                                   false,
-                                                                   true,
-                                                                   false,
-                                                                   false,
-                                                                   true,
-                                                                   true,
-                                                                   false)),
-                                                                   (String
-                                                                   ((Ascii
-                                                                   (false,
-                                                                   true,
-                                                                   true,
-                                                                   true,
-                                                                   false,
-                                                                   true,
-                                                                   true,
-                                                                   false)),
-                                                                   (String
-                                                                   ((Ascii
-                                                                   (true,
-                                                                   true,
-                                                                   false,
-                                                                   false,
-                                                                   false,
-                                                                   true,
-                                                                   true,
-                                                                   false)),
-                                                                   (String
-                                                                   ((Ascii
-                                                                   (true,
-                                                                   false,
-                                                                   true,
-                                                                   false,
-                                                                   false,
-                                                                   true,
-                                                                   true,
-                                                                   false)),
-                                                                   EmptyString))))))))))))))))))))))))))))))))))))))))))))))))
-                                                                   ((String
-                                                                   ((Ascii
-                                                                   (false,
-                                                                   false,
-                                                                   false,
-                                                                   false,
-                                                                   true,
-                                                                   true,
-                                                                   true,
-                                                                   false)),
-                                                                   (String
-                                                                   ((Ascii
-                                                                   (true,
-                                                                   false,
-                                                                   false,
-                                                                   false,
-                                                                   false,
-                                                                   true,
-                                                                   true,
-                                                                   false)),
-                                                                   (String
-                                                                   ((Ascii
-                                                                   (false,
-                                                                   true,
-                                                                   false,
-                                                                   false,
-                                                                   true,
-                                                                   true,
-                                                                   true,
-                                                                   false)),
-                                                                   (String
-                                                                   ((Ascii
-                                                                   (true,
-                                                                   true,
-                                                                   false,
-                                                                   false,
-                                                                   true,
-                                                                   true,
-                                                                   true,
-                                                                   false)),
-                                                                   (String
-                                                                   ((Ascii
-                                                                   (true,
-                                                                   false,
-                                                                   true,
-                                                                   false,
-                                                                   false,
-                                                                   true,
-                                                                   true,
-                                                                   false)),
-                                                                   (String
-                                                                   ((Ascii
-                                                                   (true,
-                                                                   true,
-                                                                   false,
-                                                                   false,
-                                                                   true,
-                                                                   false,
-                                                                   true,
-                                                                   false)),
-                                                                   (String
-                                                                   ((Ascii
-                                                                   (false,
-                                                                   false,
-                                                                   true,
-                                                                   false,
-                                                                   true,
-                                                                   true,
-                                                                   true,
-                                                                   false)),
-                                                                   (String
-                                                                   ((Ascii
-                                                                   (false,
-                                                                   true,
-                                                                   false,
-                                                                   false,
-                                                                   true,
-                                                                   true,
-                                                                   true,
-                                                                   false)),
-                                                                   (String
-                                                                   ((Ascii
-                                                                   (true,
-                                                                   false,
-                                                                   false,
-                                                                   true,
-                                                                   false,
-                                                                   true,
-                                                                   true,
-                                                                   false)),
-                                                                   (String
-                                                                   ((Ascii
-                                                                   (false,
-                                                                   true,
-                                                                   true,
-                                                                   true,
-                                                                   false,
-                                                                   true,
-                                                                   true,
-                                                                   false)),
-                                                                   (String
-                                                                   ((Ascii
-                                                                   (true,
-                                                                   true,
-                                                                   true,
-                                                                   false,
-                                                                   false,
-                                                                   true,
-                                                                   true,
-                                                                   false)),
-                                                                   (String
-                                                                   ((Ascii
-                                                                   (false,
-                                                                   true,
-                                                                   true,
-                                                                   false,
-                                                                   false,
-                                                                   false,
-                                                                   true,
-                                                                   false)),
-                                                                   (String
-                                                                   ((Ascii
-                                                                   (true,
-                                                                   false,
-                                                                   false,
-                                                                   true,
-                                                                   false,
-                                                                   true,
-                                                                   true,
-                                                                   false)),
-                                                                   (String
-                                                                   ((Ascii
-                                                                   (true,
-                                                                   false,
-                                                                   true,
-                                                                   false,
-                                                                   false,
-                                                                   true,
-                                                                   true,
-                                                                   false)),
-                                                                   (String
-                                                                   ((Ascii
-                                                                   (false,
-                                                                   false,
-                                                                   true,
-                                                                   true,
-                                                                   false,
-                                                                   true,
-                                                                   true,
-                                                                   false)),
-                                                                   (String
-                                                                   ((Ascii
-                                                                   (false,
-                                                                   false,
-                                                                   true,
-                                                                   false,
-                                                                   false,
-                                                                   true,
-                                                                   true,
-                                                                   false)),
-                                                                   EmptyString)))))))))))))))))))))))))))))))) :: [])) :: (
-    (mkcut (S (S (S (S (S (S (S (S (S (S (S (S (S (S (S (S (S (S (S (S (S (S
-      (S (S (S (S (S (S (S (S (S (S (S (S (S (S (S (S
-      O)))))))))))))))))))))))))))))))))))))) (S (S (S (S (S (S (S (S (S (S
-      (S (S (S (S (S (S (S (S (S (S (S (S (S (S (S (S (S (S (S (S (S (S (S (S
-      (S (S (S (S (S (S O)))))))))))))))))))))))))))))))))))))))) (String
-      ((Ascii (true, false, false, true, false, false, true, false)), (String
-      ((Ascii (true, true, false, false, true, false, true, false)), (String
-      ((Ascii (true, true, true, true, false, false, true, false)), (String
-      ((Ascii (false, false, true, false, false, false, true, false)),
-      (String ((Ascii (true, false, true, false, false, true, true, false)),
-      (String ((Ascii (true, true, false, false, true, true, true, false)),
-      (String ((Ascii (false, false, true, false, true, true, true, false)),
-      (String ((Ascii (true, false, false, true, false, true, true, false)),
-      (String ((Ascii (false, true, true, true, false, true, true, false)),
-      (String ((Ascii (true, false, false, false, false, true, true, false)),
-      (String ((Ascii (false, false, true, false, true, true, true, false)),
-      (String ((Ascii (true, false, false, true, false, true, true, false)),
-      (String ((Ascii (true, true, true, true, false, true, true, false)),
-      (String ((Ascii (false, true, true, true, false, true, true, false)),
-      (String ((Ascii (true, true, false, false, false, false, true, false)),
-      (String ((Ascii (true, true, true, true, false, true, true, false)),
-      (String ((Ascii (true, false, true, false, true, true, true, false)),
-      (String ((Ascii (false, true, true, true, false, true, true, false)),
-      (String ((Ascii (false, false, true, false, true, true, true, false)),
-      (String ((Ascii (false, true, false, false, true, true, true, false)),
-      (String ((Ascii (true, false, false, true, true, true, true, false)),
-      (String ((Ascii (true, true, false, false, false, false, true, false)),
-      (String ((Ascii (true, true, true, true, false, true, true, false)),
-      (String ((Ascii (false, false, true, false, false, true, true, false)),
-      (String ((Ascii (true, false, true, false, false, true, true, false)),
-      EmptyString)))))))))))))))))))))))))))))))))))))))))))))))))) ((String
-      ((Ascii (false, false, false, false, true, true, true, false)), (String
-      ((Ascii (true, false, false, false, false, true, true, false)), (String
-      ((Ascii (false, true, false, false, true, true, true, false)), (String
-      ((Ascii (true, true, false, false, true, true, true, false)), (String
-      ((Ascii (true, false, true, false, false, true, true, false)), (String
-      ((Ascii (true, true, false, false, true, false, true, false)), (String
-      ((Ascii (false, false, true, false, true, true, true, false)), (String
-      ((Ascii (false, true, false, false, true, true, true, false)), (String
-      ((Ascii (true, false, false, true, false, true, true, false)), (String
-      ((Ascii (false, true, true, true, false, true, true, false)), (String
-      ((Ascii (true, true, true, false, false, true, true, false)), (String
-      ((Ascii (false, true, true, false, false, false, true, false)), (String
-      ((Ascii (true, false, false, true, false, true, true, false)), (String
-      ((Ascii (true, false, true, false, false, true, true, false)), (String
-      ((Ascii (false, false, true, true, false, true, true, false)), (String
-      ((Ascii (false, false, true, false, false, true, true, false)),
-      EmptyString)))))))))))))))))))))))))))))))) :: [])) :: ((mkcut (S (S (S
-                                                                (S (S (S (S
-                                                                (S (S (S (S
-                                                                (S (S (S (S
-                                                                (S (S (S (S
-                                                                (S (S (S (S
-                                                                (S (S (S (S
-                                                                (S (S (S (S
-                                                                (S (S (S (S
-                                                                (S (S (S (S
-                                                                (S
-                                                                O))))))))))))))))))))))))))))))))))))))))
-                                                                (S (S (S (S
-                                                                (S (S (S (S
-                                                                (S (S (S (S
-                                                                (S (S (S (S
-                                                                (S (S (S (S
-                                                                (S (S (S (S
-                                                                (S (S (S (S
-                                                                (S (S (S (S
-                                                                (S (S (S (S
-                                                                (S (S (S (S
-                                                                (S (S (S (S
-                                                                (S (S (S (S
-                                                                (S (S
-                                                                O))))))))))))))))))))))))))))))))))))))))))))))))))
-                                                                (String
-                                                                ((Ascii
-                                                                (true, true,
-                                                                true, true,
-                                                                false, false,
-                                                                true,
-                                                                false)),
-                                                                (String
-                                                                ((Ascii
-                                                                (false, true,
-                                                                false, false,
-                                                                true, true,
-                                                                true,
-                                                                false)),
-                                                                (String
-                                                                ((Ascii
-                                                                (true, false,
-                                                                false, true,
-                                                                false, true,
-                                                                true,
-                                                                false)),
-                                                                (String
-                                                                ((Ascii
-                                                                (true, true,
-                                                                true, false,
-                                                                false, true,
-                                                                true,
-                                                                false)),
-                                                                (String
-                                                                ((Ascii
-                                                                (true, false,
-                                                                false, true,
-                                                                false, true,
-                                                                true,
-                                                                false)),
-                                                                (String
-                                                                ((Ascii
-                                                                (false, true,
-                                                                true, true,
-                                                                false, true,
-                                                                true,
-                                                                false)),
-                                                                (String
-                                                                ((Ascii
-                                                                (true, false,
-                                                                false, false,
-                                                                false, true,
-                                                                true,
-                                                                false)),
-                                                                (String
-                                                                ((Ascii
-                                                                (false,
-                                                                false, true,
-                                                                false, true,
-                                                                true, true,
-                                                                false)),
-                                                                (String
-                                                                ((Ascii
-                                                                (true, true,
-                                                                true, true,
-                                                                false, true,
-                                                                true,
-                                                                false)),
-                                                                (String
-                                                                ((Ascii
-                                                                (false, true,
-                                                                false, false,
-                                                                true, true,
-                                                                true,
-                                                                false)),
-                                                                (String
-                                                                ((Ascii
-                                                                (true, false,
-                                                                false, true,
-                                                                false, false,
-                                                                true,
-                                                                false)),
-                                                                (String
-                                                                ((Ascii
-                                                                (false,
-                                                                false, true,
-                                                                false, false,
-                                                                true, true,
-                                                                false)),
-                                                                (String
-                                                                ((Ascii
-                                                                (true, false,
-                                                                true, false,
-                                                                false, true,
-                                                                true,
-                                                                false)),
-                                                                (String
-                                                                ((Ascii
-                                                                (false, true,
-                                                                true, true,
-                                                                false, true,
-                                                                true,
-                                                                false)),
-                                                                (String
-                                                                ((Ascii
-                                                                (false,
-                                                                false, true,
-                                                                false, true,
-                                                                true, true,
-                                                                false)),
-                                                                (String
-                                                                ((Ascii
-                                                                (true, false,
-                                                                false, true,
-                                                                false, true,
-                                                                true,
-                                                                false)),
-                                                                (String
-                                                                ((Ascii
-                                                                (false, true,
-                                                                true, false,
-                                                                false, true,
-                                                                true,
-                                                                false)),
-                                                                (String
-                                                                ((Ascii
-                                                                (true, false,
-                                                                false, true,
-                                                                false, true,
-                                                                true,
-                                                                false)),
-                                                                (String
-                                                                ((Ascii
-                                                                (true, true,
-                                                                false, false,
-                                                                false, true,
-                                                                true,
-                                                                false)),
-                                                                (String
-                                                                ((Ascii
-                                                                (true, false,
-                                                                false, false,
-                                                                false, true,
-                                                                true,
-                                                                false)),
-                                                                (String
-                                                                ((Ascii
-                                                                (false,
-                                                                false, true,
-                                                                false, true,
-                                                                true, true,
-                                                                false)),
-                                                                (String
-                                                                ((Ascii
-                                                                (true, false,
-                                                                false, true,
-                                                                false, true,
-                                                                true,
-                                                                false)),
-                                                                (String
-                                                                ((Ascii
-                                                                (true, true,
-                                                                true, true,
-                                                                false, true,
-                                                                true,
-                                                                false)),
-                                                                (String
-                                                                ((Ascii
-                                                                (false, true,
-                                                                true, true,
-                                                                false, true,
-                                                                true,
-                                                                false)),
-                                                                EmptyString))))))))))))))))))))))))))))))))))))))))))))))))
-                                                                ((String
-                                                                ((Ascii
-                                                                (false,
-                                                                false, false,
-                                                                false, true,
-                                                                true, true,
-                                                                false)),
-                                                                (String
-                                                                ((Ascii
-                                                                (true, false,
-                                                                false, false,
-                                                                false, true,
-                                                                true,
-                                                                false)),
-                                                                (String
-                                                                ((Ascii
-                                                                (false, true,
-                                                                false, false,
-                                                                true, true,
-                                                                true,
-                                                                false)),
-                                                                (String
-                                                                ((Ascii
-                                                                (true, true,
-                                                                false, false,
-                                                                true, true,
-                                                                true,
-                                                                false)),
-                                                                (String
-                                                                ((Ascii
-                                                                (true, false,
-                                                                true, false,
-                                                                false, true,
-                                                                true,
-                                                                false)),
-                                                                (String
-                                                                ((Ascii
-                                                                (true, true,
-                                                                false, false,
-                                                                true, false,
-                                                                true,
-                                                                false)),
-                                                                (String
-                                                                ((Ascii
-                                                                (false,
-                                                                false, true,
-                                                                false, true,
-                                                                true, true,
-                                                                false)),
-                                                                (String
-                                                                ((Ascii
-                                                                (false, true,
-                                                                false, false,
-                                                                true, true,
-                                                                true,
-                                                                false)),
-                                                                (String
-                                                                ((Ascii
-                                                                (true, false,
-                                                                false, true,
-                                                                false, true,
-                                                                true,
-                                                                false)),
-                                                                (String
-                                                                ((Ascii
-                                                                (false, true,
-                                                                true, true,
-                                                                false, true,
-                                                                true,
-                                                                false)),
-                                                                (String
-                                                                ((Ascii
-                                                                (true, true,
-                                                                true, false,
-                                                                false, true,
-                                                                true,
-                                                                false)),
-                                                                (String
-                                                                ((Ascii
-                                                                (false, true,
-                                                                true, false,
-                                                                false, false,
-                                                                true,
-                                                                false)),
-                                                                (String
-                                                                ((Ascii
-                                                                (true, false,
-                                                                false, true,
-                                                                false, true,
-                                                                true,
-                                                                false)),
-                                                                (String
-                                                                ((Ascii
-                                                                (true, false,
-                                                                true, false,
-                                                                false, true,
-                                                                true,
-                                                                false)),
-                                                                (String
-                                                                ((Ascii
-                                                                (false,
-                                                                false, true,
-                                                                true, false,
-                                                                true, true,
-                                                                false)),
-                                                                (String
-                                                                ((Ascii
-                                                                (false,
-                                                                false, true,
-                                                                false, false,
-                                                                true, true,
-                                                                false)),
-                                                                EmptyString)))))))))))))))))))))))))))))))) :: [])) :: (
-    (mkcut (S (S (S (S (S (S (S (S (S (S (S (S (S (S (S (S (S (S (S (S (S (S
-      (S (S (S (S (S (S (S (S (S (S (S (S (S (S (S (S (S (S (S (S (S (S (S (S
-      (S (S (S (S O)))))))))))))))))))))))))))))))))))))))))))))))))) (S (S
-      (S (S (S (S (S (S (S (S (S (S (S (S (S (S (S (S (S (S (S (S (S (S (S (S
-      (S (S (S (S (S (S (S (S (S (S (S (S (S (S (S (S (S (S (S (S (S (S (S (S
-      (S (S (S O))))))))))))))))))))))))))))))))))))))))))))))))))))) (String
-      ((Ascii (true, true, false, false, true, false, true, false)), (String
-      ((Ascii (false, false, true, false, true, true, true, false)), (String
-      ((Ascii (true, false, false, false, false, true, true, false)), (String
-      ((Ascii (false, true, true, true, false, true, true, false)), (String
-      ((Ascii (false, false, true, false, false, true, true, false)), (String
-      ((Ascii (true, false, false, false, false, true, true, false)), (String
-      ((Ascii (false, true, false, false, true, true, true, false)), (String
-      ((Ascii (false, false, true, false, false, true, true, false)), (String
-      ((Ascii (true, false, true, false, false, false, true, false)), (String
-      ((Ascii (false, true, true, true, false, true, true, false)), (String
-      ((Ascii (false, false, true, false, true, true, true, false)), (String
-      ((Ascii (false, true, false, false, true, true, true, false)), (String
-      ((Ascii (true, false, false, true, true, true, true, false)), (String
-      ((Ascii (true, true, false, false, false, false, true, false)), (String
-      ((Ascii (false, false, true, true, false, true, true, false)), (String
-      ((Ascii (true, false, false, false, false, true, true, false)), (String
-      ((Ascii (true, true, false, false, true, true, true, false)), (String
-      ((Ascii (true, true, false, false, true, true, true, false)), (String
-      ((Ascii (true, true, false, false, false, false, true, false)), (String
-      ((Ascii (true, true, true, true, false, true, true, false)), (String
-      ((Ascii (false, false, true, false, false, true, true, false)), (String
-      ((Ascii (true, false, true, false, false, true, true, false)),
-      EmptyString)))))))))))))))))))))))))))))))))))))))))))) []) :: (
-    (mkcut (S (S (S (S (S (S (S (S (S (S (S (S (S (S (S (S (S (S (S (S (S (S
-      (S (S (S (S (S (S (S (S (S (S (S (S (S (S (S (S (S (S (S (S (S (S (S (S
-      (S (S (S (S (S (S (S
-      O))))))))))))))))))))))))))))))))))))))))))))))))))))) (S (S (S (S (S
-      (S (S (S (S (S (S (S (S (S (S (S (S (S (S (S (S (S (S (S (S (S (S (S (S
-      (S (S (S (S (S (S (S (S (S (S (S (S (S (S (S (S (S (S (S (S (S (S (S (S
-      (S (S (S (S (S (S (S (S (S (S
-      O)))))))))))))))))))))))))))))))))))))))))))))))))))))))))))))))
-      (String ((Ascii (true, true, false, false, false, false, true, false)),
-      (String ((Ascii (true, true, true, true, false, true, true, false)),
-      (String ((Ascii (true, false, true, true, false, true, true, false)),
-      (String ((Ascii (false, false, false, false, true, true, true, false)),
-      (String ((Ascii (true, false, false, false, false, true, true, false)),
-      (String ((Ascii (false, true, true, true, false, true, true, false)),
-      (String ((Ascii (true, false, false, true, true, true, true, false)),
-      (String ((Ascii (true, false, true, false, false, false, true, false)),
-      (String ((Ascii (false, true, true, true, false, true, true, false)),
-      (String ((Ascii (false, false, true, false, true, true, true, false)),
-      (String ((Ascii (false, true, false, false, true, true, true, false)),
-      (String ((Ascii (true, false, false, true, true, true, true, false)),
-      (String ((Ascii (false, false, true, false, false, false, true,
-      false)), (String ((Ascii (true, false, true, false, false, true, true,
-      false)), (String ((Ascii (true, true, false, false, true, true, true,
-      false)), (String ((Ascii (true, true, false, false, false, true, true,
-      false)), (String ((Ascii (false, true, false, false, true, true, true,
-      false)), (String ((Ascii (true, false, false, true, false, true, true,
-      false)), (String ((Ascii (false, false, false, false, true, true, true,
-      false)), (String ((Ascii (false, false, true, false, true, true, true,
-      false)), (String ((Ascii (true, false, false, true, false, true, true,
-      false)), (String ((Ascii (true, true, true, true, false, true, true,
-      false)), (String ((Ascii (false, true, true, true, false, true, true,
-      false)), EmptyString))))))))))))))))))))))))))))))))))))))))))))))
-      ((String ((Ascii (true, true, false, false, true, true, true, false)),
-      (String ((Ascii (false, false, true, false, true, true, true, false)),
-      (String ((Ascii (false, true, false, false, true, true, true, false)),
-      (String ((Ascii (true, false, false, true, false, true, true, false)),
-      (String ((Ascii (false, true, true, true, false, true, true, false)),
-      (String ((Ascii (true, true, true, false, false, true, true, false)),
-      (String ((Ascii (true, true, false, false, true, true, true, false)),
-      (String ((Ascii (false, true, true, true, false, true, false, false)),
-      (String ((Ascii (false, false, true, false, true, false, true, false)),
-      (String ((Ascii (false, true, false, false, true, true, true, false)),
-      (String ((Ascii (true, false, false, true, false, true, true, false)),
-      (String ((Ascii (true, false, true, true, false, true, true, false)),
-      (String ((Ascii (true, true, false, false, true, false, true, false)),
-      (String ((Ascii (false, false, false, false, true, true, true, false)),
-      (String ((Ascii (true, false, false, false, false, true, true, false)),
-      (String ((Ascii (true, true, false, false, false, true, true, false)),
-      (String ((Ascii (true, false, true, false, false, true, true, false)),
-      EmptyString)))))))))))))))))))))))))))))))))) :: [])) :: ((mkcut (S (S
-                                                                  (S (S (S (S
-                                                                  (S (S (S (S
-                                                                  (S (S (S (S
-                                                                  (S (S (S (S
-                                                                  (S (S (S (S
-                                                                  (S (S (S (S
-                                                                  (S (S (S (S
-                                                                  (S (S (S (S
-                                                                  (S (S (S (S
-                                                                  (S (S (S (S
-                                                                  (S (S (S (S
-                                                                  (S (S (S (S
-                                                                  (S (S (S (S
-                                                                  (S (S (S (S
-                                                                  (S (S (S (S
-                                                                  (S
-                                                                  O)))))))))))))))))))))))))))))))))))))))))))))))))))))))))))))))
-                                                                  (S (S (S (S
-                                                                  (S (S (S (S
-                                                                  (S (S (S (S
-                                                                  (S (S (S (S
-                                                                  (S (S (S (S
-                                                                  (S (S (S (S
-                                                                  (S (S (S (S
-                                                                  (S (S (S (S
-                                                                  (S (S (S (S
-                                                                  (S (S (S (S
-                                                                  (S (S (S (S
-                                                                  (S (S (S (S
-                                                                  (S (S (S (S
-                                                                  (S (S (S (S
-                                                                  (S (S (S (S
-                                                                  (S (S (S (S
-                                                                  (S (S
-                                                                  O))))))))))))))))))))))))))))))))))))))))))))))))))))))))))))))))))
-                                                                  (String
-                                                                  ((Ascii
-                                                                  (true,
-                                                                  false,
-                                                                  false,
-                                                                  true,
-                                                                  false,
-                                                                  false,
-                                                                  true,
-                                                                  false)),
-                                                                  (String
-                                                                  ((Ascii
-                                                                  (true,
-                                                                  true,
-                                                                  false,
-                                                                  false,
-                                                                  true,
-                                                                  false,
-                                                                  true,
-                                                                  false)),
-                                                                  (String
-                                                                  ((Ascii
-                                                                  (true,
-                                                                  true, true,
-                                                                  true,
-                                                                  false,
-                                                                  false,
-                                                                  true,
-                                                                  false)),
-                                                                  (String
-                                                                  ((Ascii
-                                                                  (true,
-                                                                  true, true,
-                                                                  true,
-                                                                  false,
-                                                                  false,
-                                                                  true,
-                                                                  false)),
-                                                                  (String
-                                                                  ((Ascii
-                                                                  (false,
-                                                                  true,
-                                                                  false,
-                                                                  false,
-                                                                  true, true,
-                                                                  true,
-                                                                  false)),
-                                                                  (String
-                                                                  ((Ascii
-                                                                  (true,
-                                                                  false,
-                                                                  false,
-                                                                  true,
-                                                                  false,
-                                                                  true, true,
-                                                                  false)),
-                                                                  (String
-                                                                  ((Ascii
-                                                                  (true,
-                                                                  true, true,
-                                                                  false,
-                                                                  false,
-                                                                  true, true,
-                                                                  false)),
-                                                                  (String
-                                                                  ((Ascii
-                                                                  (true,
-                                                                  false,
-                                                                  false,
-                                                                  true,
-                                                                  false,
-                                                                  true, true,
-                                                                  false)),
-                                                                  (String
-                                                                  ((Ascii
-                                                                  (false,
-                                                                  true, true,
-                                                                  true,
-                                                                  false,
-                                                                  true, true,
-                                                                  false)),
-                                                                  (String
-                                                                  ((Ascii
-                                                                  (true,
-                                                                  false,
-                                                                  false,
-                                                                  false,
-                                                                  false,
-                                                                  true, true,
-                                                                  false)),
-                                                                  (String
-                                                                  ((Ascii
-                                                                  (false,
-                                                                  false,
-                                                                  true,
-                                                                  false,
-                                                                  true, true,
-                                                                  true,
-                                                                  false)),
-                                                                  (String
-                                                                  ((Ascii
-                                                                  (true,
-                                                                  false,
-                                                                  false,
-                                                                  true,
-                                                                  false,
-                                                                  true, true,
-                                                                  false)),
-                                                                  (String
-                                                                  ((Ascii
-                                                                  (false,
-                                                                  true, true,
-                                                                  true,
-                                                                  false,
-                                                                  true, true,
-                                                                  false)),
-                                                                  (String
-                                                                  ((Ascii
-                                                                  (true,
-                                                                  true, true,
-                                                                  false,
-                                                                  false,
-                                                                  true, true,
-                                                                  false)),
-                                                                  (String
-                                                                  ((Ascii
-                                                                  (true,
-                                                                  true,
-                                                                  false,
-                                                                  false,
-                                                                  false,
-                                                                  false,
-                                                                  true,
-                                                                  false)),
-                                                                  (String
-                                                                  ((Ascii
-                                                                  (true,
-                                                                  false,
-                                                                  true,
-                                                                  false,
-                                                                  true, true,
-                                                                  true,
-                                                                  false)),
-                                                                  (String
-                                                                  ((Ascii
-                                                                  (false,
-                                                                  true,
-                                                                  false,
-                                                                  false,
-                                                                  true, true,
-                                                                  true,
-                                                                  false)),
-                                                                  (String
-                                                                  ((Ascii
-                                                                  (false,
-                                                                  true,
-                                                                  false,
-                                                                  false,
-                                                                  true, true,
-                                                                  true,
-                                                                  false)),
-                                                                  (String
-                                                                  ((Ascii
-                                                                  (true,
-                                                                  false,
-                                                                  true,
-                                                                  false,
-                                                                  false,
-                                                                  true, true,
-                                                                  false)),
-                                                                  (String
-                                                                  ((Ascii
-                                                                  (false,
-                                                                  true, true,
-                                                                  true,
-                                                                  false,
-                                                                  true, true,
-                                                                  false)),
-                                                                  (String
-                                                                  ((Ascii
-                                                                  (true,
-                                                                  true,
-                                                                  false,
-                                                                  false,
-                                                                  false,
-                                                                  true, true,
-                                                                  false)),
-                                                                  (String
-                                                                  ((Ascii
-                                                                  (true,
-                                                                  false,
-                                                                  false,
-                                                                  true, true,
-                                                                  true, true,
-                                                                  false)),
-                                                                  (String
-                                                                  ((Ascii
-                                                                  (true,
-                                                                  true,
-                                                                  false,
-                                                                  false,
-                                                                  false,
-                                                                  false,
-                                                                  true,
-                                                                  false)),
-                                                                  (String
-                                                                  ((Ascii
-                                                                  (true,
-                                                                  true, true,
-                                                                  true,
-                                                                  false,
-                                                                  true, true,
-                                                                  false)),
-                                                                  (String
-                                                                  ((Ascii
-                                                                  (false,
-                                                                  false,
-                                                                  true,
-                                                                  false,
-                                                                  false,
-                                                                  true, true,
-                                                                  false)),
-                                                                  (String
-                                                                  ((Ascii
-                                                                  (true,
-                                                                  false,
-                                                                  true,
-                                                                  false,
-                                                                  false,
-                                                                  true, true,
-                                                                  false)),
-                                                                  EmptyString))))))))))))))))))))))))))))))))))))))))))))))))))))
-                                                                  ((String
-                                                                  ((Ascii
-                                                                  (false,
-                                                                  false,
-                                                                  false,
-                                                                  false,
-                                                                  true, true,
-                                                                  true,
-                                                                  false)),
-                                                                  (String
-                                                                  ((Ascii
-                                                                  (true,
-                                                                  false,
-                                                                  false,
-                                                                  false,
-                                                                  false,
-                                                                  true, true,
-                                                                  false)),
-                                                                  (String
-                                                                  ((Ascii
-                                                                  (false,
-                                                                  true,
-                                                                  false,
-                                                                  false,
-                                                                  true, true,
-                                                                  true,
-                                                                  false)),
-                                                                  (String
-                                                                  ((Ascii
-                                                                  (true,
-                                                                  true,
-                                                                  false,
-                                                                  false,
-                                                                  true, true,
-                                                                  true,
-                                                                  false)),
-                                                                  (String
-                                                                  ((Ascii
-                                                                  (true,
-                                                                  false,
-                                                                  true,
-                                                                  false,
-                                                                  false,
-                                                                  true, true,
-                                                                  false)),
-                                                                  (String
-                                                                  ((Ascii
-                                                                  (true,
-                                                                  true,
-                                                                  false,
-                                                                  false,
-                                                                  true,
-                                                                  false,
-                                                                  true,
-                                                                  false)),
-                                                                  (String
-                                                                  ((Ascii
-                                                                  (false,
-                                                                  false,
-                                                                  true,
-                                                                  false,
-                                                                  true, true,
-                                                                  true,
-                                                                  false)),
-                                                                  (String
-                                                                  ((Ascii
-                                                                  (false,
-                                                                  true,
-                                                                  false,
-                                                                  false,
-                                                                  true, true,
-                                                                  true,
-                                                                  false)),
-                                                                  (String
-                                                                  ((Ascii
-                                                                  (true,
-                                                                  false,
-                                                                  false,
-                                                                  true,
-                                                                  false,
-                                                                  true, true,
-                                                                  false)),
-                                                                  (String
-                                                                  ((Ascii
-                                                                  (false,
-                                                                  true, true,
-                                                                  true,
-                                                                  false,
-                                                                  true, true,
-                                                                  false)),
-                                                                  (String
-                                                                  ((Ascii
-                                                                  (true,
-                                                                  true, true,
-                                                                  false,
-                                                                  false,
-                                                                  true, true,
-                                                                  false)),
-                                                                  (String
-                                                                  ((Ascii
-                                                                  (false,
-                                                                  true, true,
-                                                                  false,
-                                                                  false,
-                                                                  false,
-                                                                  true,
-                                                                  false)),
-                                                                  (String
-                                                                  ((Ascii
-                                                                  (true,
-                                                                  false,
-                                                                  false,
-                                                                  true,
-                                                                  false,
-                                                                  true, true,
-                                                                  false)),
-                                                                  (String
-                                                                  ((Ascii
-                                                                  (true,
-                                                                  false,
-                                                                  true,
-                                                                  false,
-                                                                  false,
-                                                                  true, true,
-                                                                  false)),
-                                                                  (String
-                                                                  ((Ascii
-                                                                  (false,
-                                                                  false,
-                                                                  true, true,
-                                                                  false,
-                                                                  true, true,
-                                                                  false)),
-                                                                  (String
-                                                                  ((Ascii
-                                                                  (false,
-                                                                  false,
-                                                                  true,
-                                                                  false,
-                                                                  false,
-                                                                  true, true,
-                                                                  false)),
-                                                                  EmptyString)))))))))))))))))))))))))))))))) :: [])) :: (
-    (mkcut (S (S (S (S (S (S (S (S (S (S (S (S (S (S (S (S (S (S (S (S (S (S
-      (S (S (S (S (S (S (S (S (S (S (S (S (S (S (S (S (S (S (S (S (S (S (S (S
-      (S (S (S (S (S (S (S (S (S (S (S (S (S (S (S (S (S (S (S (S
-      O)))))))))))))))))))))))))))))))))))))))))))))))))))))))))))))))))) (S
-      (S (S (S (S (S (S (S (S (S (S (S (S (S (S (S (S (S (S (S (S (S (S (S (S
-      (S (S (S (S (S (S (S (S (S (S (S (S (S (S (S (S (S (S (S (S (S (S (S (S
-      (S (S (S (S (S (S (S (S (S (S (S (S (S (S (S (S (S (S (S (S
-      O)))))))))))))))))))))))))))))))))))))))))))))))))))))))))))))))))))))
-      (String ((Ascii (true, false, false, true, false, false, true, false)),
-      (String ((Ascii (true, true, false, false, true, false, true, false)),
-      (String ((Ascii (true, true, true, true, false, false, true, false)),
-      (String ((Ascii (false, false, true, false, false, false, true,
-      false)), (String ((Ascii (true, false, true, false, false, true, true,
-      false)), (String ((Ascii (true, true, false, false, true, true, true,
-      false)), (String ((Ascii (false, false, true, false, true, true, true,
-      false)), (String ((Ascii (true, false, false, true, false, true, true,
-      false)), (String ((Ascii (false, true, true, true, false, true, true,
-      false)), (String ((Ascii (true, false, false, false, false, true, true,
-      false)), (String ((Ascii (false, false, true, false, true, true, true,
-      false)), (String ((Ascii (true, false, false, true, false, true, true,
-      false)), (String ((Ascii (true, true, true, true, false, true, true,
-      false)), (String ((Ascii (false, true, true, true, false, true, true,
-      false)), (String ((Ascii (true, true, false, false, false, false, true,
-      false)), (String ((Ascii (true, false, true, false, true, true, true,
-      false)), (String ((Ascii (false, true, false, false, true, true, true,
-      false)), (String ((Ascii (false, true, false, false, true, true, true,
-      false)), (String ((Ascii (true, false, true, false, false, true, true,
-      false)), (String ((Ascii (false, true, true, true, false, true, true,
-      false)), (String ((Ascii (true, true, false, false, false, true, true,
-      false)), (String ((Ascii (true, false, false, true, true, true, true,
-      false)), (String ((Ascii (true, true, false, false, false, false, true,
-      false)), (String ((Ascii (true, true, true, true, false, true, true,
-      false)), (String ((Ascii (false, false, true, false, false, true, true,
-      false)), (String ((Ascii (true, false, true, false, false, true, true,
-      false)),
-      EmptyString))))))))))))))))))))))))))))))))))))))))))))))))))))
-      ((String ((Ascii (false, false, false, false, true, true, true,
-      false)), (String ((Ascii (true, false, false, false, false, true, true,
-      false)), (String ((Ascii (false, true, false, false, true, true, true,
-      false)), (String ((Ascii (true, true, false, false, true, true, true,
-      false)), (String ((Ascii (true, false, true, false, false, true, true,
-      false)), (String ((Ascii (true, true, false, false, true, false, true,
-      false)), (String ((Ascii (false, false, true, false, true, true, true,
-      false)), (String ((Ascii (false, true, false, false, true, true, true,
-      false)), (String ((Ascii (true, false, false, true, false, true, true,
-      false)), (String ((Ascii (false, true, true, true, false, true, true,
-      false)), (String ((Ascii (true, true, true, false, false, true, true,
-      false)), (String ((Ascii (false, true, true, false, false, false, true,
-      false)), (String ((Ascii (true, false, false, true, false, true, true,
-      false)), (String ((Ascii (true, false, true, false, false, true, true,
-      false)), (String ((Ascii (false, false, true, true, false, true, true,
-      false)), (String ((Ascii (false, false, true, false, false, true, true,
-      false)), EmptyString)))))))))))))))))))))))))))))))) :: [])) :: (
-    (mkcut (S (S (S (S (S (S (S (S (S (S (S (S (S (S (S (S (S (S (S (S (S (S
-      (S (S (S (S (S (S (S (S (S (S (S (S (S (S (S (S (S (S (S (S (S (S (S (S
-      (S (S (S (S (S (S (S (S (S (S (S (S (S (S (S (S (S (S (S (S (S (S (S
-      O)))))))))))))))))))))))))))))))))))))))))))))))))))))))))))))))))))))
-      (S (S (S (S (S (S (S (S (S (S (S (S (S (S (S (S (S (S (S (S (S (S (S (S
-      (S (S (S (S (S (S (S (S (S (S (S (S (S (S (S (S (S (S (S (S (S (S (S (S
-      (S (S (S (S (S (S (S (S (S (S (S (S (S (S (S (S (S (S (S (S (S (S (S (S
-      (S (S (S
-      O)))))))))))))))))))))))))))))))))))))))))))))))))))))))))))))))))))))))))))
-      (String ((Ascii (true, false, true, false, false, false, true, false)),
-      (String ((Ascii (false, true, true, false, false, true, true, false)),
-      (String ((Ascii (false, true, true, false, false, true, true, false)),
-      (String ((Ascii (true, false, true, false, false, true, true, false)),
-      (String ((Ascii (true, true, false, false, false, true, true, false)),
-      (String ((Ascii (false, false, true, false, true, true, true, false)),
-      (String ((Ascii (true, false, false, true, false, true, true, false)),
-      (String ((Ascii (false, true, true, false, true, true, true, false)),
-      (String ((Ascii (true, false, true, false, false, true, true, false)),
-      (String ((Ascii (true, false, true, false, false, false, true, false)),
-      (String ((Ascii (false, true, true, true, false, true, true, false)),
-      (String ((Ascii (false, false, true, false, true, true, true, false)),
-      (String ((Ascii (false, true, false, false, true, true, true, false)),
-      (String ((Ascii (true, false, false, true, true, true, true, false)),
-      (String ((Ascii (false, false, true, false, false, false, true,
-      false)), (String ((Ascii (true, false, false, false, false, true, true,
-      false)), (String ((Ascii (false, false, true, false, true, true, true,
-      false)), (String ((Ascii (true, false, true, false, false, true, true,
-      false)), EmptyString)))))))))))))))))))))))))))))))))))) ((String
-      ((Ascii (false, true, true, false, true, true, true, false)), (String
-      ((Ascii (true, false, false, false, false, true, true, false)), (String
-      ((Ascii (false, false, true, true, false, true, true, false)), (String
-      ((Ascii (true, false, false, true, false, true, true, false)), (String
-      ((Ascii (false, false, true, false, false, true, true, false)), (String
-      ((Ascii (true, false, false, false, false, true, true, false)), (String
-      ((Ascii (false, false, true, false, true, true, true, false)), (String
-      ((Ascii (true, false, true, false, false, true, true, false)), (String
-      ((Ascii (true, true, false, false, true, false, true, false)), (String
-      ((Ascii (true, false, false, true, false, true, true, false)), (String
-      ((Ascii (true, false, true, true, false, true, true, false)), (String
-      ((Ascii (false, false, false, false, true, true, true, false)), (String
-      ((Ascii (false, false, true, true, false, true, true, false)), (String
-      ((Ascii (true, false, true, false, false, true, true, false)), (String
-      ((Ascii (false, false, true, false, false, false, true, false)),
-      (String ((Ascii (true, false, false, false, false, true, true, false)),
-      (String ((Ascii (false, false, true, false, true, true, true, false)),
-      (String ((Ascii (true, false, true, false, false, true, true, false)),
-      EmptyString)))))))))))))))))))))))))))))))))))) :: [])) :: ((mkcut (S
-                                                                    (S (S (S
-                                                                    (S (S (S
-                                                                    (S (S (S
-                                                                    (S (S (S
-                                                                    (S (S (S
-                                                                    (S (S (S
-                                                                    (S (S (S
-                                                                    (S (S (S
-                                                                    (S (S (S
-                                                                    (S (S (S
-                                                                    (S (S (S
-                                                                    (S (S (S
-                                                                    (S (S (S
-                                                                    (S (S (S
-                                                                    (S (S (S
-                                                                    (S (S (S
-                                                                    (S (S (S
-                                                                    (S (S (S
-                                                                    (S (S (S
-                                                                    (S (S (S
-                                                                    (S (S (S
-                                                                    (S (S (S
-                                                                    (S (S (S
-                                                                    (S (S (S
-                                                                    (S (S
-                                                                    O)))))))))))))))))))))))))))))))))))))))))))))))))))))))))))))))))))))))))))
-                                                                    (S (S (S
-                                                                    (S (S (S
-                                                                    (S (S (S
-                                                                    (S (S (S
-                                                                    (S (S (S
-                                                                    (S (S (S
-                                                                    (S (S (S
-                                                                    (S (S (S
-                                                                    (S (S (S
-                                                                    (S (S (S
-                                                                    (S (S (S
-                                                                    (S (S (S
-                                                                    (S (S (S
-                                                                    (S (S (S
-                                                                    (S (S (S
-                                                                    (S (S (S
-                                                                    (S (S (S
-                                                                    (S (S (S
-                                                                    (S (S (S
-                                                                    (S (S (S
-                                                                    (S (S (S
-                                                                    (S (S (S
-                                                                    (S (S (S
-                                                                    (S (S (S
-                                                                    (S (S (S
-                                                                    (S (S (S
-                                                                    O))))))))))))))))))))))))))))))))))))))))))))))))))))))))))))))))))))))))))))))
-                                                                    (String
-                                                                    ((Ascii
-                                                                    (true,
-                                                                    true,
-                                                                    false,
-                                                                    false,
-                                                                    true,
-                                                                    false,
-                                                                    true,
-                                                                    false)),
-                                                                    (String
-                                                                    ((Ascii
-                                                                    (true,
-                                                                    false,
-                                                                    true,
-                                                                    false,
-                                                                    false,
-                                                                    true,
-                                                                    true,
-                                                                    false)),
-                                                                    (String
-                                                                    ((Ascii
-                                                                    (false,
-                                                                    false,
-                                                                    true,
-                                                                    false,
-                                                                    true,
-                                                                    true,
-                                                                    true,
-                                                                    false)),
-                                                                    (String
-                                                                    ((Ascii
-                                                                    (false,
-                                                                    false,
-                                                                    true,
-                                                                    false,
-                                                                    true,
-                                                                    true,
-                                                                    true,
-                                                                    false)),
-                                                                    (String
-                                                                    ((Ascii
-                                                                    (false,
-                                                                    false,
-                                                                    true,
-                                                                    true,
-                                                                    false,
-                                                                    true,
-                                                                    true,
-                                                                    false)),
-                                                                    (String
-                                                                    ((Ascii
-                                                                    (true,
-                                                                    false,
-                                                                    true,
-                                                                    false,
-                                                                    false,
-                                                                    true,
-                                                                    true,
-                                                                    false)),
-                                                                    (String
-                                                                    ((Ascii
-                                                                    (true,
-                                                                    false,
-                                                                    true,
-                                                                    true,
-                                                                    false,
-                                                                    true,
-                                                                    true,
-                                                                    false)),
-                                                                    (String
-                                                                    ((Ascii
-                                                                    (true,
-                                                                    false,
-                                                                    true,
-                                                                    false,
-                                                                    false,
-                                                                    true,
-                                                                    true,
-                                                                    false)),
-                                                                    (String
-                                                                    ((Ascii
-                                                                    (false,
-                                                                    true,
-                                                                    true,
-                                                                    true,
-                                                                    false,
-                                                                    true,
-                                                                    true,
-                                                                    false)),
-                                                                    (String
-                                                                    ((Ascii
-                                                                    (false,
-                                                                    false,
-                                                                    true,
-                                                                    false,
-                                                                    true,
-                                                                    true,
-                                                                    true,
-                                                                    false)),
-                                                                    (String
-                                                                    ((Ascii
-                                                                    (false,
-                                                                    false,
-                                                                    true,
-                                                                    false,
-                                                                    false,
-                                                                    false,
-                                                                    true,
-                                                                    false)),
-                                                                    (String
-                                                                    ((Ascii
-                                                                    (true,
-                                                                    false,
-                                                                    false,
-                                                                    false,
-                                                                    false,
-                                                                    true,
-                                                                    true,
-                                                                    false)),
-                                                                    (String
-                                                                    ((Ascii
-                                                                    (false,
-                                                                    false,
-                                                                    true,
-                                                                    false,
-                                                                    true,
-                                                                    true,
-                                                                    true,
-                                                                    false)),
-                                                                    (String
-                                                                    ((Ascii
-                                                                    (true,
-                                                                    false,
-                                                                    true,
-                                                                    false,
-                                                                    false,
-                                                                    true,
-                                                                    true,
-                                                                    false)),
-                                                                    EmptyString))))))))))))))))))))))))))))
-                                                                    ((String
-                                                                    ((Ascii
-                                                                    (false,
-                                                                    true,
-                                                                    true,
-                                                                    false,
-                                                                    true,
-                                                                    true,
-                                                                    true,
-                                                                    false)),
-                                                                    (String
-                                                                    ((Ascii
-                                                                    (true,
-                                                                    false,
-                                                                    false,
-                                                                    false,
-                                                                    false,
-                                                                    true,
-                                                                    true,
-                                                                    false)),
-                                                                    (String
-                                                                    ((Ascii
-                                                                    (false,
-                                                                    false,
-                                                                    true,
-                                                                    true,
-                                                                    false,
-                                                                    true,
-                                                                    true,
-                                                                    false)),
-                                                                    (String
-                                                                    ((Ascii
-                                                                    (true,
-                                                                    false,
-                                                                    false,
-                                                                    true,
-                                                                    false,
-                                                                    true,
-                                                                    true,
-                                                                    false)),
-                                                                    (String
-                                                                    ((Ascii
-                                                                    (false,
-                                                                    false,
-                                                                    true,
-                                                                    false,
-                                                                    false,
-                                                                    true,
-                                                                    true,
-                                                                    false)),
-                                                                    (String
-                                                                    ((Ascii
-                                                                    (true,
-                                                                    false,
-                                                                    false,
-                                                                    false,
-                                                                    false,
-                                                                    true,
-                                                                    true,
-                                                                    false)),
-                                                                    (String
-                                                                    ((Ascii
-                                                                    (false,
-                                                                    false,
-                                                                    true,
-                                                                    false,
-                                                                    true,
-                                                                    true,
-                                                                    true,
-                                                                    false)),
-                                                                    (String
-                                                                    ((Ascii
-                                                                    (true,
-                                                                    false,
-                                                                    true,
-                                                                    false,
-                                                                    false,
-                                                                    true,
-                                                                    true,
-                                                                    false)),
-                                                                    (String
-                                                                    ((Ascii
-                                                                    (true,
-                                                                    true,
-                                                                    false,
-                                                                    false,
-                                                                    true,
-                                                                    false,
-                                                                    true,
-                                                                    false)),
-                                                                    (String
-                                                                    ((Ascii
-                                                                    (true,
-                                                                    false,
-                                                                    true,
-                                                                    false,
-                                                                    false,
-                                                                    true,
-                                                                    true,
-                                                                    false)),
-                                                                    (String
-                                                                    ((Ascii
-                                                                    (false,
-                                                                    false,
-                                                                    true,
-                                                                    false,
-                                                                    true,
-                                                                    true,
-                                                                    true,
-                                                                    false)),
-                                                                    (String
-                                                                    ((Ascii
-                                                                    (false,
-                                                                    false,
-                                                                    true,
-                                                                    false,
-                                                                    true,
-                                                                    true,
-                                                                    true,
-                                                                    false)),
-                                                                    (String
-                                                                    ((Ascii
-                                                                    (false,
-                                                                    false,
-                                                                    true,
-                                                                    true,
-                                                                    false,
-                                                                    true,
-                                                                    true,
-                                                                    false)),
-                                                                    (String
-                                                                    ((Ascii
-                                                                    (true,
-                                                                    false,
-                                                                    true,
-                                                                    false,
-                                                                    false,
-                                                                    true,
-                                                                    true,
-                                                                    false)),
-                                                                    (String
-                                                                    ((Ascii
-                                                                    (true,
-                                                                    false,
-                                                                    true,
-                                                                    true,
-                                                                    false,
-                                                                    true,
-                                                                    true,
-                                                                    false)),
-                                                                    (String
-                                                                    ((Ascii
-                                                                    (true,
-                                                                    false,
-                                                                    true,
-                                                                    false,
-                                                                    false,
-                                                                    true,
-                                                                    true,
-                                                                    false)),
-                                                                    (String
-                                                                    ((Ascii
-                                                                    (false,
-                                                                    true,
-                                                                    true,
-                                                                    true,
-                                                                    false,
-                                                                    true,
-                                                                    true,
-                                                                    false)),
-                                                                    (String
-                                                                    ((Ascii
-                                                                    (false,
-                                                                    false,
-                                                                    true,
-                                                                    false,
-                                                                    true,
-                                                                    true,
-                                                                    true,
-                                                                    false)),
-                                                                    (String
-                                                                    ((Ascii
-                                                                    (false,
-                                                                    false,
-                                                                    true,
-                                                                    false,
-                                                                    false,
-                                                                    false,
-                                                                    true,
-                                                                    false)),
-                                                                    (String
-                                                                    ((Ascii
-                                                                    (true,
-                                                                    false,
-                                                                    false,
-                                                                    false,
-                                                                    false,
-                                                                    true,
-                                                                    true,
-                                                                    false)),
-                                                                    (String
-                                                                    ((Ascii
-                                                                    (false,
-                                                                    false,
-                                                                    true,
-                                                                    false,
-                                                                    true,
-                                                                    true,
-                                                                    true,
-                                                                    false)),
-                                                                    (String
-                                                                    ((Ascii
-                                                                    (true,
-                                                                    false,
-                                                                    true,
-                                                                    false,
-                                                                    false,
-                                                                    true,
-                                                                    true,
-                                                                    false)),
-                                                                    EmptyString)))))))))))))))))))))))))))))))))))))))))))) :: [])) :: (
-    (mkcut (S (S (S (S (S (S (S (S (S (S (S (S (S (S (S (S (S (S (S (S (S (S
-      (S (S (S (S (S (S (S (S (S (S (S (S (S (S (S (S (S (S (S (S (S (S (S (S
-      (S (S (S (S (S (S (S (S (S (S (S (S (S (S (S (S (S (S (S (S (S (S (S (S
-      (S (S (S (S (S (S (S (S
-      O))))))))))))))))))))))))))))))))))))))))))))))))))))))))))))))))))))))))))))))
-      (S (S (S (S (S (S (S (S (S (S (S (S (S (S (S (S (S (S (S (S (S (S (S (S
-      (S (S (S (S (S (S (S (S (S (S (S (S (S (S (S (S (S (S (S (S (S (S (S (S
-      (S (S (S (S (S (S (S (S (S (S (S (S (S (S (S (S (S (S (S (S (S (S (S (S
-      (S (S (S (S (S (S (S
-      O)))))))))))))))))))))))))))))))))))))))))))))))))))))))))))))))))))))))))))))))
-      (String ((Ascii (true, true, true, true, false, false, true, false)),
-      (String ((Ascii (false, true, false, false, true, true, true, false)),
-      (String ((Ascii (true, false, false, true, false, true, true, false)),
-      (String ((Ascii (true, true, true, false, false, true, true, false)),
-      (String ((Ascii (true, false, false, true, false, true, true, false)),
-      (String ((Ascii (false, true, true, true, false, true, true, false)),
-      (String ((Ascii (true, false, false, false, false, true, true, false)),
-      (String ((Ascii (false, false, true, false, true, true, true, false)),
-      (String ((Ascii (true, true, true, true, false, true, true, false)),
-      (String ((Ascii (false, true, false, false, true, true, true, false)),
-      (String ((Ascii (true, true, false, false, true, false, true, false)),
-      (String ((Ascii (false, false, true, false, true, true, true, false)),
-      (String ((Ascii (true, false, false, false, false, true, true, false)),
-      (String ((Ascii (false, false, true, false, true, true, true, false)),
-      (String ((Ascii (true, false, true, false, true, true, true, false)),
-      (String ((Ascii (true, true, false, false, true, true, true, false)),
-      (String ((Ascii (true, true, false, false, false, false, true, false)),
-      (String ((Ascii (true, true, true, true, false, true, true, false)),
-      (String ((Ascii (false, false, true, false, false, true, true, false)),
-      (String ((Ascii (true, false, true, false, false, true, true, false)),
-      EmptyString)))))))))))))))))))))))))))))))))))))))) ((String ((Ascii
-      (false, false, false, false, true, true, true, false)), (String ((Ascii
-      (true, false, false, false, false, true, true, false)), (String ((Ascii
-      (false, true, false, false, true, true, true, false)), (String ((Ascii
-      (true, true, false, false, true, true, true, false)), (String ((Ascii
-      (true, false, true, false, false, true, true, false)), (String ((Ascii
-      (false, true, true, true, false, false, true, false)), (String ((Ascii
-      (true, false, true, false, true, true, true, false)), (String ((Ascii
-      (true, false, true, true, false, true, true, false)), (String ((Ascii
-      (false, true, true, false, false, false, true, false)), (String ((Ascii
-      (true, false, false, true, false, true, true, false)), (String ((Ascii
-      (true, false, true, false, false, true, true, false)), (String ((Ascii
-      (false, false, true, true, false, true, true, false)), (String ((Ascii
-      (false, false, true, false, false, true, true, false)),
-      EmptyString)))))))))))))))))))))))))) :: [])) :: ((mkcut (S (S (S (S (S
-                                                          (S (S (S (S (S (S
-                                                          (S (S (S (S (S (S
-                                                          (S (S (S (S (S (S
-                                                          (S (S (S (S (S (S
-                                                          (S (S (S (S (S (S
-                                                          (S (S (S (S (S (S
-                                                          (S (S (S (S (S (S
-                                                          (S (S (S (S (S (S
-                                                          (S (S (S (S (S (S
-                                                          (S (S (S (S (S (S
-                                                          (S (S (S (S (S (S
-                                                          (S (S (S (S (S (S
-                                                          (S (S
-                                                          O)))))))))))))))))))))))))))))))))))))))))))))))))))))))))))))))))))))))))))))))
-                                                          (S (S (S (S (S (S
-                                                          (S (S (S (S (S (S
-                                                          (S (S (S (S (S (S
-                                                          (S (S (S (S (S (S
-                                                          (S (S (S (S (S (S
-                                                          (S (S (S (S (S (S
-                                                          (S (S (S (S (S (S
-                                                          (S (S (S (S (S (S
-                                                          (S (S (S (S (S (S
-                                                          (S (S (S (S (S (S
-                                                          (S (S (S (S (S (S
-                                                          (S (S (S (S (S (S
-                                                          (S (S (S (S (S (S
-                                                          (S (S (S (S (S (S
-                                                          (S (S (S
-                                                          O)))))))))))))))))))))))))))))))))))))))))))))))))))))))))))))))))))))))))))))))))))))))
-                                                          (String ((Ascii
-                                                          (true, true, true,
-                                                          true, false, false,
-                                                          true, false)),
-                                                          (String ((Ascii
-                                                          (false, false,
-                                                          true, false, false,
-                                                          false, true,
-                                                          false)), (String
-                                                          ((Ascii (false,
-                                                          true, true, false,
-                                                          false, false, true,
-                                                          false)), (String
-                                                          ((Ascii (true,
-                                                          false, false, true,
-                                                          false, false, true,
-                                                          false)), (String
-                                                          ((Ascii (true,
-                                                          false, false, true,
-                                                          false, false, true,
-                                                          false)), (String
-                                                          ((Ascii (false,
-                                                          false, true, false,
-                                                          false, true, true,
-                                                          false)), (String
-                                                          ((Ascii (true,
-                                                          false, true, false,
-                                                          false, true, true,
-                                                          false)), (String
-                                                          ((Ascii (false,
-                                                          true, true, true,
-                                                          false, true, true,
-                                                          false)), (String
-                                                          ((Ascii (false,
-                                                          false, true, false,
-                                                          true, true, true,
-                                                          false)), (String
-                                                          ((Ascii (true,
-                                                          false, false, true,
-                                                          false, true, true,
-                                                          false)), (String
-                                                          ((Ascii (false,
-                                                          true, true, false,
-                                                          false, true, true,
-                                                          false)), (String
-                                                          ((Ascii (true,
-                                                          false, false, true,
-                                                          false, true, true,
-                                                          false)), (String
-                                                          ((Ascii (true,
-                                                          true, false, false,
-                                                          false, true, true,
-                                                          false)), (String
-                                                          ((Ascii (true,
-                                                          false, false,
-                                                          false, false, true,
-                                                          true, false)),
-                                                          (String ((Ascii
-                                                          (false, false,
-                                                          true, false, true,
-                                                          true, true,
-                                                          false)), (String
-                                                          ((Ascii (true,
-                                                          false, false, true,
-                                                          false, true, true,
-                                                          false)), (String
-                                                          ((Ascii (true,
-                                                          true, true, true,
-                                                          false, true, true,
-                                                          false)), (String
-                                                          ((Ascii (false,
-                                                          true, true, true,
-                                                          false, true, true,
-                                                          false)),
-                                                          EmptyString))))))))))))))))))))))))))))))))))))
-                                                          ((String ((Ascii
-                                                          (false, false,
-                                                          false, false, true,
-                                                          true, true,
-                                                          false)), (String
-                                                          ((Ascii (true,
-                                                          false, false,
-                                                          false, false, true,
-                                                          true, false)),
-                                                          (String ((Ascii
-                                                          (false, true,
-                                                          false, false, true,
-                                                          true, true,
-                                                          false)), (String
-                                                          ((Ascii (true,
-                                                          true, false, false,
-                                                          true, true, true,
-                                                          false)), (String
-                                                          ((Ascii (true,
-                                                          false, true, false,
-                                                          false, true, true,
-                                                          false)), (String
-                                                          ((Ascii (true,
-                                                          true, false, false,
-                                                          true, false, true,
-                                                          false)), (String
-                                                          ((Ascii (false,
-                                                          false, true, false,
-                                                          true, true, true,
-                                                          false)), (String
-                                                          ((Ascii (false,
-                                                          true, false, false,
-                                                          true, true, true,
-                                                          false)), (String
-                                                          ((Ascii (true,
-                                                          false, false, true,
-                                                          false, true, true,
-                                                          false)), (String
-                                                          ((Ascii (false,
-                                                          true, true, true,
-                                                          false, true, true,
-                                                          false)), (String
-                                                          ((Ascii (true,
-                                                          true, true, false,
-                                                          false, true, true,
-                                                          false)), (String
-                                                          ((Ascii (false,
-                                                          true, true, false,
-                                                          false, false, true,
-                                                          false)), (String
-                                                          ((Ascii (true,
-                                                          false, false, true,
-                                                          false, true, true,
-                                                          false)), (String
-                                                          ((Ascii (true,
-                                                          false, true, false,
-                                                          false, true, true,
-                                                          false)), (String
-                                                          ((Ascii (false,
-                                                          false, true, true,
-                                                          false, true, true,
-                                                          false)), (String
-                                                          ((Ascii (false,
-                                                          false, true, false,
-                                                          false, true, true,
-                                                          false)),
-                                                          EmptyString)))))))))))))))))))))))))))))))) :: [])) :: (
-    (mkcut (S (S (S (S (S (S (S (S (S (S (S (S (S (S (S (S (S (S (S (S (S (S
-      (S (S (S (S (S (S (S (S (S (S (S (S (S (S (S (S (S (S (S (S (S (S (S (S
-      (S (S (S (S (S (S (S (S (S (S (S (S (S (S (S (S (S (S (S (S (S (S (S (S
-      (S (S (S (S (S (S (S (S (S (S (S (S (S (S (S (S (S
-      O)))))))))))))))))))))))))))))))))))))))))))))))))))))))))))))))))))))))))))))))))))))))
-      (S (S (S (S (S (S (S (S (S (S (S (S (S (S (S (S (S (S (S (S (S (S (S (S
-      (S (S (S (S (S (S (S (S (S (S (S (S (S (S (S (S (S (S (S (S (S (S (S (S
-      (S (S (S (S (S (S (S (S (S (S (S (S (S (S (S (S (S (S (S (S (S (S (S (S
-      (S (S (S (S (S (S (S (S (S (S (S (S (S (S (S (S (S (S (S (S (S (S
-      O))))))))))))))))))))))))))))))))))))))))))))))))))))))))))))))))))))))))))))))))))))))))))))))
-      (String ((Ascii (false, true, false, false, false, false, true,
-      false)), (String ((Ascii (true, false, false, false, false, true, true,
-      false)), (String ((Ascii (false, false, true, false, true, true, true,
-      false)), (String ((Ascii (true, true, false, false, false, true, true,
-      false)), (String ((Ascii (false, false, false, true, false, true, true,
-      false)), (String ((Ascii (false, true, true, true, false, false, true,
-      false)), (String ((Ascii (true, false, true, false, true, true, true,
-      false)), (String ((Ascii (true, false, true, true, false, true, true,
-      false)), (String ((Ascii (false, true, false, false, false, true, true,
-      false)), (String ((Ascii (true, false, true, false, false, true, true,
-      false)), (String ((Ascii (false, true, false, false, true, true, true,
-      false)), EmptyString)))))))))))))))))))))) ((String ((Ascii (false,
-      false, false, false, true, true, true, false)), (String ((Ascii (true,
-      false, false, false, false, true, true, false)), (String ((Ascii
-      (false, true, false, false, true, true, true, false)), (String ((Ascii
-      (true, true, false, false, true, true, true, false)), (String ((Ascii
-      (true, false, true, false, false, true, true, false)), (String ((Ascii
-      (false, true, true, true, false, false, true, false)), (String ((Ascii
-      (true, false, true, false, true, true, true, false)), (String ((Ascii
-      (true, false, true, true, false, true, true, false)), (String ((Ascii
-      (false, true, true, false, false, false, true, false)), (String ((Ascii
-      (true, false, false, true, false, true, true, false)), (String ((Ascii
-      (true, false, true, false, false, true, true, false)), (String ((Ascii
-      (false, false, true, true, false, true, true, false)), (String ((Ascii
-      (false, false, true, false, false, true, true, false)),
-      EmptyString)))))))))))))))))))))))))) :: [])) :: []))))))))))))))))) }
-
-(** val l_IATEntryDetail : layout **)
-
-let l_IATEntryDetail =
-  { l_name = (String ((Ascii (true, false, false, true, false, false, true,
-    false)), (String ((Ascii (true, false, false, false, false, false, true,
-    false)), (String ((Ascii (false, false, true, false, true, false, true,
-    false)), (String ((Ascii (true, false, true, false, false, false, true,
-    false)), (String ((Ascii (false, true, true, true, false, true, true,
-    false)), (String ((Ascii (false, false, true, false, true, true, true,
-    false)), (String ((Ascii (false, true, false, false, true, true, true,
-    false)), (String ((Ascii (true, false, false, true, true, true, true,
-    false)), (String ((Ascii (false, false, true, false, false, false, true,
-    false)), (String ((Ascii (true, false, true, false, false, true, true,
-    false)), (String ((Ascii (false, false, true, false, true, true, true,
-    false)), (String ((Ascii (true, false, false, false, false, true, true,
-    false)), (String ((Ascii (true, false, false, true, false, true, true,
-    false)), (String ((Ascii (false, false, true, true, false, true, true,
-    false)), EmptyString)))))))))))))))))))))))))))); l_ix = IRune; l_segs =
-    ((SLit ((Npos (XO (XI (XI (XO (XI XH)))))) :: [])) :: ((SItoa (String
-    ((Ascii (false, false, true, false, true, false, true, false)), (String
-    ((Ascii (false, true, false, false, true, true, true, false)), (String
-    ((Ascii (true, false, false, false, false, true, true, false)), (String
-    ((Ascii (false, true, true, true, false, true, true, false)), (String
-    ((Ascii (true, true, false, false, true, true, true, false)), (String
-    ((Ascii (true, false, false, false, false, true, true, false)), (String
-    ((Ascii (true, true, false, false, false, true, true, false)), (String
-    ((Ascii (false, false, true, false, true, true, true, false)), (String
-    ((Ascii (true, false, false, true, false, true, true, false)), (String
-    ((Ascii (true, true, true, true, false, true, true, false)), (String
-    ((Ascii (false, true, true, true, false, true, true, false)), (String
-    ((Ascii (true, true, false, false, false, false, true, false)), (String
-    ((Ascii (true, true, true, true, false, true, true, false)), (String
-    ((Ascii (false, false, true, false, false, true, true, false)), (String
-    ((Ascii (true, false, true, false, false, true, true, false)),
-    EmptyString))))))))))))))))))))))))))))))) :: ((SStr ((String ((Ascii
-    (false, true, false, false, true, false, true, false)), (String ((Ascii
-    (false, false, true, false, false, false, true, false)), (String ((Ascii
-    (false, true, true, false, false, false, true, false)), (String ((Ascii
-    (true, false, false, true, false, false, true, false)), (String ((Ascii
-    (true, false, false, true, false, false, true, false)), (String ((Ascii
-    (false, false, true, false, false, true, true, false)), (String ((Ascii
-    (true, false, true, false, false, true, true, false)), (String ((Ascii
-    (false, true, true, true, false, true, true, false)), (String ((Ascii
-    (false, false, true, false, true, true, true, false)), (String ((Ascii
-    (true, false, false, true, false, true, true, false)), (String ((Ascii
-    (false, true, true, false, false, true, true, false)), (String ((Ascii
-    (true, false, false, true, false, true, true, false)), (String ((Ascii
-    (true, true, false, false, false, true, true, false)), (String ((Ascii
-    (true, false, false, false, false, true, true, false)), (String ((Ascii
-    (false, false, true, false, true, true, true, false)), (String ((Ascii
-    (true, false, false, true, false, true, true, false)), (String ((Ascii
-    (true, true, true, true, false, true, true, false)), (String ((Ascii
-    (false, true, true, true, false, true, true, false)),
-    EmptyString)))))))))))))))))))))))))))))))))))), (S (S (S (S (S (S (S (S
-    O)))))))))) :: ((SRaw (String ((Ascii (true, true, false, false, false,
-    false, true, false)), (String ((Ascii (false, false, false, true, false,
-    true, true, false)), (String ((Ascii (true, false, true, false, false,
-    true, true, false)), (String ((Ascii (true, true, false, false, false,
-    true, true, false)), (String ((Ascii (true, true, false, true, false,
-    true, true, false)), (String ((Ascii (false, false, true, false, false,
-    false, true, false)), (String ((Ascii (true, false, false, true, false,
-    true, true, false)), (String ((Ascii (true, true, true, false, false,
-    true, true, false)), (String ((Ascii (true, false, false, true, false,
-    true, true, false)), (String ((Ascii (false, false, true, false, true,
-    true, true, false)), EmptyString))))))))))))))))))))) :: ((SNum ((String
-    ((Ascii (true, false, false, false, false, false, true, false)), (String
-    ((Ascii (false, false, true, false, false, true, true, false)), (String
-    ((Ascii (false, false, true, false, false, true, true, false)), (String
-    ((Ascii (true, false, true, false, false, true, true, false)), (String
-    ((Ascii (false, true, true, true, false, true, true, false)), (String
-    ((Ascii (false, false, true, false, false, true, true, false)), (String
-    ((Ascii (true, false, false, false, false, true, true, false)), (String
-    ((Ascii (false, true, false, false, true, false, true, false)), (String
-    ((Ascii (true, false, true, false, false, true, true, false)), (String
-    ((Ascii (true, true, false, false, false, true, true, false)), (String
-    ((Ascii (true, true, true, true, false, true, true, false)), (String
-    ((Ascii (false, true, false, false, true, true, true, false)), (String
-    ((Ascii (false, false, true, false, false, true, true, false)), (String
-    ((Ascii (true, true, false, false, true, true, true, false)),
-    EmptyString)))))))))))))))))))))))))))), (S (S (S (S O)))))) :: ((SLit
-    ((Npos (XO (XO (XO (XO (XO XH)))))) :: ((Npos (XO (XO (XO (XO (XO
-    XH)))))) :: ((Npos (XO (XO (XO (XO (XO XH)))))) :: ((Npos (XO (XO (XO (XO
-    (XO XH)))))) :: ((Npos (XO (XO (XO (XO (XO XH)))))) :: ((Npos (XO (XO (XO
-    (XO (XO XH)))))) :: ((Npos (XO (XO (XO (XO (XO XH)))))) :: ((Npos (XO (XO
-    (XO (XO (XO XH)))))) :: ((Npos (XO (XO (XO (XO (XO XH)))))) :: ((Npos (XO
-    (XO (XO (XO (XO XH)))))) :: ((Npos (XO (XO (XO (XO (XO XH)))))) :: ((Npos
-    (XO (XO (XO (XO (XO XH)))))) :: ((Npos (XO (XO (XO (XO (XO
-    XH)))))) :: [])))))))))))))) :: ((SNum ((String ((Ascii (true, false,
-    false, false, false, false, true, false)), (String ((Ascii (true, false,
-    true, true, false, true, true, false)), (String ((Ascii (true, true,
-    true, true, false, true, true, false)), (String ((Ascii (true, false,
-    true, false, true, true, true, false)), (String ((Ascii (false, true,
-    true, true, false, true, true, false)), (String ((Ascii (false, false,
-    true, false, true, true, true, false)), EmptyString)))))))))))), (S (S (S
-    (S (S (S (S (S (S (S O)))))))))))) :: ((SAlpha ((String ((Ascii (false,
-    false, true, false, false, false, true, false)), (String ((Ascii (false,
-    true, true, false, false, false, true, false)), (String ((Ascii (true,
-    false, false, true, false, false, true, false)), (String ((Ascii (true,
-    false, false, false, false, false, true, false)), (String ((Ascii (true,
-    true, false, false, false, true, true, false)), (String ((Ascii (true,
-    true, false, false, false, true, true, false)), (String ((Ascii (true,
-    true, true, true, false, true, true, false)), (String ((Ascii (true,
-    false, true, false, true, true, true, false)), (String ((Ascii (false,
-    true, true, true, false, true, true, false)), (String ((Ascii (false,
-    false, true, false, true, true, true, false)), (String ((Ascii (false,
-    true, true, true, false, false, true, false)), (String ((Ascii (true,
-    false, true, false, true, true, true, false)), (String ((Ascii (true,
-    false, true, true, false, true, true, false)), (String ((Ascii (false,
-    true, false, false, false, true, true, false)), (String ((Ascii (true,
-    false, true, false, false, true, true, false)), (String ((Ascii (false,
-    true, false, false, true, true, true, false)),
-    EmptyString)))))))))))))))))))))))))))))))), (S (S (S (S (S (S (S (S (S
-    (S (S (S (S (S (S (S (S (S (S (S (S (S (S (S (S (S (S (S (S (S (S (S (S
-    (S (S O))))))))))))))))))))))))))))))))))))) :: ((SLit ((Npos (XO (XO (XO
-    (XO (XO XH)))))) :: ((Npos (XO (XO (XO (XO (XO
-    XH)))))) :: []))) :: ((SAlpha ((String ((Ascii (true, true, true, true,
-    false, false, true, false)), (String ((Ascii (false, true, true, false,
-    false, false, true, false)), (String ((Ascii (true, false, false, false,
-    false, false, true, false)), (String ((Ascii (true, true, false, false,
-    false, false, true, false)), (String ((Ascii (true, true, false, false,
-    true, false, true, false)), (String ((Ascii (true, true, false, false,
-    false, true, true, false)), (String ((Ascii (false, true, false, false,
-    true, true, true, false)), (String ((Ascii (true, false, true, false,
-    false, true, true, false)), (String ((Ascii (true, false, true, false,
-    false, true, true, false)), (String ((Ascii (false, true, true, true,
-    false, true, true, false)), (String ((Ascii (true, false, false, true,
-    false, true, true, false)), (String ((Ascii (false, true, true, true,
-    false, true, true, false)), (String ((Ascii (true, true, true, false,
-    false, true, true, false)), (String ((Ascii (true, false, false, true,
-    false, false, true, false)), (String ((Ascii (false, true, true, true,
-    false, true, true, false)), (String ((Ascii (false, false, true, false,
-    false, true, true, false)), (String ((Ascii (true, false, false, true,
-    false, true, true, false)), (String ((Ascii (true, true, false, false,
-    false, true, true, false)), (String ((Ascii (true, false, false, false,
-    false, true, true, false)), (String ((Ascii (false, false, true, false,
-    true, true, true, false)), (String ((Ascii (true, true, true, true,
-    false, true, true, false)), (String ((Ascii (false, true, false, false,
-    true, true, true, false)),
-    EmptyString)))))))))))))))))))))))))))))))))))))))))))), (S
-    O))) :: ((SAlpha ((String ((Ascii (true, true, false, false, true, false,
-    true, false)), (String ((Ascii (true, false, true, false, false, true,
-    true, false)), (String ((Ascii (true, true, false, false, false, true,
-    true, false)), (String ((Ascii (true, true, true, true, false, true,
-    true, false)), (String ((Ascii (false, true, true, true, false, true,
-    true, false)), (String ((Ascii (false, false, true, false, false, true,
-    true, false)), (String ((Ascii (true, false, false, false, false, true,
-    true, false)), (String ((Ascii (false, true, false, false, true, true,
-    true, false)), (String ((Ascii (true, false, false, true, true, true,
-    true, false)), (String ((Ascii (true, true, true, true, false, false,
-    true, false)), (String ((Ascii (false, true, true, false, false, false,
-    true, false)), (String ((Ascii (true, false, false, false, false, false,
-    true, false)), (String ((Ascii (true, true, false, false, false, false,
-    true, false)), (String ((Ascii (true, true, false, false, true, false,
-    true, false)), (String ((Ascii (true, true, false, false, false, true,
-    true, false)), (String ((Ascii (false, true, false, false, true, true,
-    true, false)), (String ((Ascii (true, false, true, false, false, true,
-    true, false)), (String ((Ascii (true, false, true, false, false, true,
-    true, false)), (String ((Ascii (false, true, true, true, false, true,
-    true, false)), (String ((Ascii (true, false, false, true, false, true,
-    true, false)), (String ((Ascii (false, true, true, true, false, true,
-    true, false)), (String ((Ascii (true, true, true, false, false, true,
-    true, false)), (String ((Ascii (true, false, false, true, false, false,
-    true, false)), (String ((Ascii (false, true, true, true, false, true,
-    true, false)), (String ((Ascii (false, false, true, false, false, true,
-    true, false)), (String ((Ascii (true, false, false, true, false, true,
-    true, false)), (String ((Ascii (true, true, false, false, false, true,
-    true, false)), (String ((Ascii (true, false, false, false, false, true,
-    true, false)), (String ((Ascii (false, false, true, false, true, true,
-    true, false)), (String ((Ascii (true, true, true, true, false, true,
-    true, false)), (String ((Ascii (false, true, false, false, true, true,
-    true, false)),
-    EmptyString)))))))))))))))))))))))))))))))))))))))))))))))))))))))))))))),
-    (S O))) :: ((SItoa (String ((Ascii (true, false, false, false, false,
-    false, true, false)), (String ((Ascii (false, false, true, false, false,
-    true, true, false)), (String ((Ascii (false, false, true, false, false,
-    true, true, false)), (String ((Ascii (true, false, true, false, false,
-    true, true, false)), (String ((Ascii (false, true, true, true, false,
-    true, true, false)), (String ((Ascii (false, false, true, false, false,
-    true, true, false)), (String ((Ascii (true, false, false, false, false,
-    true, true, false)), (String ((Ascii (false, true, false, false, true,
-    false, true, false)), (String ((Ascii (true, false, true, false, false,
-    true, true, false)), (String ((Ascii (true, true, false, false, false,
-    true, true, false)), (String ((Ascii (true, true, true, true, false,
-    true, true, false)), (String ((Ascii (false, true, false, false, true,
-    true, true, false)), (String ((Ascii (false, false, true, false, false,
-    true, true, false)), (String ((Ascii (true, false, false, true, false,
-    false, true, false)), (String ((Ascii (false, true, true, true, false,
-    true, true, false)), (String ((Ascii (false, false, true, false, false,
-    true, true, false)), (String ((Ascii (true, false, false, true, false,
-    true, true, false)), (String ((Ascii (true, true, false, false, false,
-    true, true, false)), (String ((Ascii (true, false, false, false, false,
-    true, true, false)), (String ((Ascii (false, false, true, false, true,
-    true, true, false)), (String ((Ascii (true, true, true, true, false,
-    true, true, false)), (String ((Ascii (false, true, false, false, true,
-    true, true, false)),
-    EmptyString))))))))))))))))))))))))))))))))))))))))))))) :: ((SStr
-    ((String ((Ascii (false, false, true, false, true, false, true, false)),
-    (String ((Ascii (false, true, false, false, true, true, true, false)),
-    (String ((Ascii (true, false, false, false, false, true, true, false)),
-    (String ((Ascii (true, true, false, false, false, true, true, false)),
-    (String ((Ascii (true, false, true, false, false, true, true, false)),
-    (String ((Ascii (false, true, true, true, false, false, true, false)),
-    (String ((Ascii (true, false, true, false, true, true, true, false)),
-    (String ((Ascii (true, false, true, true, false, true, true, false)),
-    (String ((Ascii (false, true, false, false, false, true, true, false)),
-    (String ((Ascii (true, false, true, false, false, true, true, false)),
-    (String ((Ascii (false, true, false, false, true, true, true, false)),
-    EmptyString)))))))))))))))))))))), (S (S (S (S (S (S (S (S (S (S (S (S (S
-    (S (S O))))))))))))))))) :: []))))))))))))); l_cuts =
-    ((mkcut O (S O) EmptyString []) :: ((mkcut (S O) (S (S (S O))) (String
-                                          ((Ascii (false, false, true, false,
-                                          true, false, true, false)), (String
-                                          ((Ascii (false, true, false, false,
-                                          true, true, true, false)), (String
-                                          ((Ascii (true, false, false, false,
-                                          false, true, true, false)), (String
-                                          ((Ascii (false, true, true, true,
-                                          false, true, true, false)), (String
-                                          ((Ascii (true, true, false, false,
-                                          true, true, true, false)), (String
-                                          ((Ascii (true, false, false, false,
-                                          false, true, true, false)), (String
-                                          ((Ascii (true, true, false, false,
-                                          false, true, true, false)), (String
-                                          ((Ascii (false, false, true, false,
-                                          true, true, true, false)), (String
-                                          ((Ascii (true, false, false, true,
-                                          false, true, true, false)), (String
-                                          ((Ascii (true, true, true, true,
-                                          false, true, true, false)), (String
-                                          ((Ascii (false, true, true, true,
-                                          false, true, true, false)), (String
-                                          ((Ascii (true, true, false, false,
-                                          false, false, true, false)),
-                                          (String ((Ascii (true, true, true,
-                                          true, false, true, true, false)),
-                                          (String ((Ascii (false, false,
-                                          true, false, false, true, true,
-                                          false)), (String ((Ascii (true,
-                                          false, true, false, false, true,
-                                          true, false)),
-                                          EmptyString))))))))))))))))))))))))))))))
-                                          ((String ((Ascii (false, false,
-                                          false, false, true, true, true,
-                                          false)), (String ((Ascii (true,
-                                          false, false, false, false, true,
-                                          true, false)), (String ((Ascii
-                                          (false, true, false, false, true,
-                                          true, true, false)), (String
-                                          ((Ascii (true, true, false, false,
-                                          true, true, true, false)), (String
-                                          ((Ascii (true, false, true, false,
-                                          false, true, true, false)), (String
-                                          ((Ascii (false, true, true, true,
-                                          false, false, true, false)),
-                                          (String ((Ascii (true, false, true,
-                                          false, true, true, true, false)),
-                                          (String ((Ascii (true, false, true,
-                                          true, false, true, true, false)),
-                                          (String ((Ascii (false, true, true,
-                                          false, false, false, true, false)),
-                                          (String ((Ascii (true, false,
-                                          false, true, false, true, true,
-                                          false)), (String ((Ascii (true,
-                                          false, true, false, false, true,
-                                          true, false)), (String ((Ascii
-                                          (false, false, true, true, false,
-                                          true, true, false)), (String
-                                          ((Ascii (false, false, true, false,
-                                          false, true, true, false)),
-                                          EmptyString)))))))))))))))))))))))))) :: [])) :: (
-    (mkcut (S (S (S O))) (S (S (S (S (S (S (S (S (S (S (S O)))))))))))
-      (String ((Ascii (false, true, false, false, true, false, true, false)),
-      (String ((Ascii (false, false, true, false, false, false, true,
-      false)), (String ((Ascii (false, true, true, false, false, false, true,
-      false)), (String ((Ascii (true, false, false, true, false, false, true,
-      false)), (String ((Ascii (true, false, false, true, false, false, true,
-      false)), (String ((Ascii (false, false, true, false, false, true, true,
-      false)), (String ((Ascii (true, false, true, false, false, true, true,
-      false)), (String ((Ascii (false, true, true, true, false, true, true,
-      false)), (String ((Ascii (false, false, true, false, true, true, true,
-      false)), (String ((Ascii (true, false, false, true, false, true, true,
-      false)), (String ((Ascii (false, true, true, false, false, true, true,
-      false)), (String ((Ascii (true, false, false, true, false, true, true,
-      false)), (String ((Ascii (true, true, false, false, false, true, true,
-      false)), (String ((Ascii (true, false, false, false, false, true, true,
-      false)), (String ((Ascii (false, false, true, false, true, true, true,
-      false)), (String ((Ascii (true, false, false, true, false, true, true,
-      false)), (String ((Ascii (true, true, true, true, false, true, true,
-      false)), (String ((Ascii (false, true, true, true, false, true, true,
-      false)), EmptyString)))))))))))))))))))))))))))))))))))) ((String
-      ((Ascii (false, false, false, false, true, true, true, false)), (String
-      ((Ascii (true, false, false, false, false, true, true, false)), (String
-      ((Ascii (false, true, false, false, true, true, true, false)), (String
-      ((Ascii (true, true, false, false, true, true, true, false)), (String
-      ((Ascii (true, false, true, false, false, true, true, false)), (String
-      ((Ascii (true, true, false, false, true, false, true, false)), (String
-      ((Ascii (false, false, true, false, true, true, true, false)), (String
-      ((Ascii (false, true, false, false, true, true, true, false)), (String
-      ((Ascii (true, false, false, true, false, true, true, false)), (String
-      ((Ascii (false, true, true, true, false, true, true, false)), (String
-      ((Ascii (true, true, true, false, false, true, true, false)), (String
-      ((Ascii (false, true, true, false, false, false, true, false)), (String
-      ((Ascii (true, false, false, true, false, true, true, false)), (String
-      ((Ascii (true, false, true, false, false, true, true, false)), (String
-      ((Ascii (false, false, true, true, false, true, true, false)), (String
-      ((Ascii (false, false, true, false, false, true, true, false)),
-      EmptyString)))))))))))))))))))))))))))))))) :: [])) :: ((mkcut (S (S (S
-                                                                (S (S (S (S
-                                                                (S (S (S (S
-                                                                O)))))))))))
-                                                                (S (S (S (S
-                                                                (S (S (S (S
-                                                                (S (S (S (S
-                                                                O))))))))))))
-                                                                (String
-                                                                ((Ascii
-                                                                (true, true,
-                                                                false, false,
-                                                                false, false,
-                                                                true,
-                                                                false)),
-                                                                (String
-                                                                ((Ascii
-                                                                (false,
-                                                                false, false,
-                                                                true, false,
-                                                                true, true,
-                                                                false)),
-                                                                (String
-                                                                ((Ascii
-                                                                (true, false,
-                                                                true, false,
-                                                                false, true,
-                                                                true,
-                                                                false)),
-                                                                (String
-                                                                ((Ascii
-                                                                (true, true,
-                                                                false, false,
-                                                                false, true,
-                                                                true,
-                                                                false)),
-                                                                (String
-                                                                ((Ascii
-                                                                (true, true,
-                                                                false, true,
-                                                                false, true,
-                                                                true,
-                                                                false)),
-                                                                (String
-                                                                ((Ascii
-                                                                (false,
-                                                                false, true,
-                                                                false, false,
-                                                                false, true,
-                                                                false)),
-                                                                (String
-                                                                ((Ascii
-                                                                (true, false,
-                                                                false, true,
-                                                                false, true,
-                                                                true,
-                                                                false)),
-                                                                (String
-                                                                ((Ascii
-                                                                (true, true,
-                                                                true, false,
-                                                                false, true,
-                                                                true,
-                                                                false)),
-                                                                (String
-                                                                ((Ascii
-                                                                (true, false,
-                                                                false, true,
-                                                                false, true,
-                                                                true,
-                                                                false)),
-                                                                (String
-                                                                ((Ascii
-                                                                (false,
-                                                                false, true,
-                                                                false, true,
-                                                                true, true,
-                                                                false)),
-                                                                EmptyString))))))))))))))))))))
-                                                                ((String
-                                                                ((Ascii
-                                                                (false,
-                                                                false, false,
-                                                                false, true,
-                                                                true, true,
-                                                                false)),
-                                                                (String
-                                                                ((Ascii
-                                                                (true, false,
-                                                                false, false,
-                                                                false, true,
-                                                                true,
-                                                                false)),
-                                                                (String
-                                                                ((Ascii
-                                                                (false, true,
-                                                                false, false,
-                                                                true, true,
-                                                                true,
-                                                                false)),
-                                                                (String
-                                                                ((Ascii
-                                                                (true, true,
-                                                                false, false,
-                                                                true, true,
-                                                                true,
-                                                                false)),
-                                                                (String
-                                                                ((Ascii
-                                                                (true, false,
-                                                                true, false,
-                                                                false, true,
-                                                                true,
-                                                                false)),
-                                                                (String
-                                                                ((Ascii
-                                                                (true, true,
-                                                                false, false,
-                                                                true, false,
-                                                                true,
-                                                                false)),
-                                                                (String
-                                                                ((Ascii
-                                                                (false,
-                                                                false, true,
-                                                                false, true,
-                                                                true, true,
-                                                                false)),
-                                                                (String
-                                                                ((Ascii
-                                                                (false, true,
-                                                                false, false,
-                                                                true, true,
-                                                                true,
-                                                                false)),
-                                                                (String
-                                                                ((Ascii
-                                                                (true, false,
-                                                                false, true,
-                                                                false, true,
-                                                                true,
-                                                                false)),
-                                                                (String
-                                                                ((Ascii
-                                                                (false, true,
-                                                                true, true,
-                                                                false, true,
-                                                                true,
-                                                                false)),
-                                                                (String
-                                                                ((Ascii
-                                                                (true, true,
-                                                                true, false,
-                                                                false, true,
-                                                                true,
-                                                                false)),
-                                                                (String
-                                                                ((Ascii
-                                                                (false, true,
-                                                                true, false,
-                                                                false, false,
-                                                                true,
-                                                                false)),
-                                                                (String
-                                                                ((Ascii
-                                                                (true, false,
-                                                                false, true,
-                                                                false, true,
-                                                                true,
-                                                                false)),
-                                                                (String
-                                                                ((Ascii
-                                                                (true, false,
-                                                                true, false,
-                                                                false, true,
-                                                                true,
-                                                                false)),
-                                                                (String
-                                                                ((Ascii
-                                                                (false,
-                                                                false, true,
-                                                                true, false,
-                                                                true, true,
-                                                                false)),
-                                                                (String
-                                                                ((Ascii
-                                                                (false,
-                                                                false, true,
-                                                                false, false,
-                                                                true, true,
-                                                                false)),
-                                                                EmptyString)))))))))))))))))))))))))))))))) :: [])) :: (
-    (mkcut (S (S (S (S (S (S (S (S (S (S (S (S O)))))))))))) (S (S (S (S (S
-      (S (S (S (S (S (S (S (S (S (S (S O)))))))))))))))) (String ((Ascii
-      (true, false, false, false, false, false, true, false)), (String
-      ((Ascii (false, false, true, false, false, true, true, false)), (String
-      ((Ascii (false, false, true, false, false, true, true, false)), (String
-      ((Ascii (true, false, true, false, false, true, true, false)), (String
-      ((Ascii (false, true, true, true, false, true, true, false)), (String
-      ((Ascii (false, false, true, false, false, true, true, false)), (String
-      ((Ascii (true, false, false, false, false, true, true, false)), (String
-      ((Ascii (false, true, false, false, true, false, true, false)), (String
-      ((Ascii (true, false, true, false, false, true, true, false)), (String
-      ((Ascii (true, true, false, false, false, true, true, false)), (String
-      ((Ascii (true, true, true, true, false, true, true, false)), (String
-      ((Ascii (false, true, false, false, true, true, true, false)), (String
-      ((Ascii (false, false, true, false, false, true, true, false)), (String
-      ((Ascii (true, true, false, false, true, true, true, false)),
-      EmptyString)))))))))))))))))))))))))))) ((String ((Ascii (false, false,
-      false, false, true, true, true, false)), (String ((Ascii (true, false,
-      false, false, false, true, true, false)), (String ((Ascii (false, true,
-      false, false, true, true, true, false)), (String ((Ascii (true, true,
-      false, false, true, true, true, false)), (String ((Ascii (true, false,
-      true, false, false, true, true, false)), (String ((Ascii (false, true,
-      true, true, false, false, true, false)), (String ((Ascii (true, false,
-      true, false, true, true, true, false)), (String ((Ascii (true, false,
-      true, true, false, true, true, false)), (String ((Ascii (false, true,
-      true, false, false, false, true, false)), (String ((Ascii (true, false,
-      false, true, false, true, true, false)), (String ((Ascii (true, false,
-      true, false, false, true, true, false)), (String ((Ascii (false, false,
-      true, true, false, true, true, false)), (String ((Ascii (false, false,
-      true, false, false, true, true, false)),
-      EmptyString)))))))))))))))))))))))))) :: [])) :: ((mkcut (S (S (S (S (S
-                                                          (S (S (S (S (S (S
-                                                          (S (S (S (S (S
-                                                          O))))))))))))))))
-                                                          (S (S (S (S (S (S
-                                                          (S (S (S (S (S (S
-                                                          (S (S (S (S (S (S
-                                                          (S (S (S (S (S (S
-                                                          (S (S (S (S (S
-                                                          O)))))))))))))))))))))))))))))
-                                                          EmptyString []) :: (
-    (mkcut (S (S (S (S (S (S (S (S (S (S (S (S (S (S (S (S (S (S (S (S (S (S
-      (S (S (S (S (S (S (S O))))))))))))))))))))))))))))) (S (S (S (S (S (S
-      (S (S (S (S (S (S (S (S (S (S (S (S (S (S (S (S (S (S (S (S (S (S (S (S
-      (S (S (S (S (S (S (S (S (S O)))))))))))))))))))))))))))))))))))))))
-      (String ((Ascii (true, false, false, false, false, false, true,
-      false)), (String ((Ascii (true, false, true, true, false, true, true,
-      false)), (String ((Ascii (true, true, true, true, false, true, true,
-      false)), (String ((Ascii (true, false, true, false, true, true, true,
-      false)), (String ((Ascii (false, true, true, true, false, true, true,
-      false)), (String ((Ascii (false, false, true, false, true, true, true,
-      false)), EmptyString)))))))))))) ((String ((Ascii (false, false, false,
-      false, true, true, true, false)), (String ((Ascii (true, false, false,
-      false, false, true, true, false)), (String ((Ascii (false, true, false,
-      false, true, true, true, false)), (String ((Ascii (true, true, false,
-      false, true, true, true, false)), (String ((Ascii (true, false, true,
-      false, false, true, true, false)), (String ((Ascii (false, true, true,
-      true, false, false, true, false)), (String ((Ascii (true, false, true,
-      false, true, true, true, false)), (String ((Ascii (true, false, true,
-      true, false, true, true, false)), (String ((Ascii (false, true, true,
-      false, false, false, true, false)), (String ((Ascii (true, false,
-      false, true, false, true, true, false)), (String ((Ascii (true, false,
-      true, false, false, true, true, false)), (String ((Ascii (false, false,
-      true, true, false, true, true, false)), (String ((Ascii (false, false,
-      true, false, false, true, true, false)),
-      EmptyString)))))))))))))))))))))))))) :: [])) :: ((mkcut (S (S (S (S (S
-                                                          (S (S (S (S (S (S
-                                                          (S (S (S (S (S (S
-                                                          (S (S (S (S (S (S
-                                                          (S (S (S (S (S (S
-                                                          (S (S (S (S (S (S
-                                                          (S (S (S (S
-                                                          O)))))))))))))))))))))))))))))))))))))))
-                                                          (S (S (S (S (S (S
-                                                          (S (S (S (S (S (S
-                                                          (S (S (S (S (S (S
-                                                          (S (S (S (S (S (S
-                                                          (S (S (S (S (S (S
-                                                          (S (S (S (S (S (S
-                                                          (S (S (S (S (S (S
-                                                          (S (S (S (S (S (S
-                                                          (S (S (S (S (S (S
-                                                          (S (S (S (S (S (S
-                                                          (S (S (S (S (S (S
-                                                          (S (S (S (S (S (S
-                                                          (S (S
-                                                          O))))))))))))))))))))))))))))))))))))))))))))))))))))))))))))))))))))))))))
-                                                          (String ((Ascii
-                                                          (false, false,
-                                                          true, false, false,
-                                                          false, true,
-                                                          false)), (String
-                                                          ((Ascii (false,
-                                                          true, true, false,
-                                                          false, false, true,
-                                                          false)), (String
-                                                          ((Ascii (true,
-                                                          false, false, true,
-                                                          false, false, true,
-                                                          false)), (String
-                                                          ((Ascii (true,
-                                                          false, false,
-                                                          false, false,
-                                                          false, true,
-                                                          false)), (String
-                                                          ((Ascii (true,
-                                                          true, false, false,
-                                                          false, true, true,
-                                                          false)), (String
-                                                          ((Ascii (true,
-                                                          true, false, false,
-                                                          false, true, true,
-                                                          false)), (String
-                                                          ((Ascii (true,
-                                                          true, true, true,
-                                                          false, true, true,
-                                                          false)), (String
-                                                          ((Ascii (true,
-                                                          false, true, false,
-                                                          true, true, true,
-                                                          false)), (String
-                                                          ((Ascii (false,
-                                                          true, true, true,
-                                                          false, true, true,
-                                                          false)), (String
-                                                          ((Ascii (false,
-                                                          false, true, false,
-                                                          true, true, true,
-                                                          false)), (String
-                                                          ((Ascii (false,
-                                                          true, true, true,
-                                                          false, false, true,
-                                                          false)), (String
-                                                          ((Ascii (true,
-                                                          false, true, false,
-                                                          true, true, true,
-                                                          false)), (String
-                                                          ((Ascii (true,
-                                                          false, true, true,
-                                                          false, true, true,
-                                                          false)), (String
-                                                          ((Ascii (false,
-                                                          true, false, false,
-                                                          false, true, true,
-                                                          false)), (String
-                                                          ((Ascii (true,
-                                                          false, true, false,
-                                                          false, true, true,
-                                                          false)), (String
-                                                          ((Ascii (false,
-                                                          true, false, false,
-                                                          true, true, true,
-                                                          false)),
-                                                          EmptyString))))))))))))))))))))))))))))))))
-                                                          ((String ((Ascii
-                                                          (false, false,
-                                                          false, false, true,
-                                                          true, true,
-                                                          false)), (String
-                                                          ((Ascii (true,
-                                                          false, false,
-                                                          false, false, true,
-                                                          true, false)),
-                                                          (String ((Ascii
-                                                          (false, true,
-                                                          false, false, true,
-                                                          true, true,
-                                                          false)), (String
-                                                          ((Ascii (true,
-                                                          true, false, false,
-                                                          true, true, true,
-                                                          false)), (String
-                                                          ((Ascii (true,
-                                                          false, true, false,
-                                                          false, true, true,
-                                                          false)), (String
-                                                          ((Ascii (true,
-                                                          true, false, false,
-                                                          true, false, true,
-                                                          false)), (String
-                                                          ((Ascii (false,
-                                                          false, true, false,
-                                                          true, true, true,
-                                                          false)), (String
-                                                          ((Ascii (false,
-                                                          true, false, false,
-                                                          true, true, true,
-                                                          false)), (String
-                                                          ((Ascii (true,
-                                                          false, false, true,
-                                                          false, true, true,
-                                                          false)), (String
-                                                          ((Ascii (false,
-                                                          true, true, true,
-                                                          false, true, true,
-                                                          false)), (String
-                                                          ((Ascii (true,
-                                                          true, true, false,
-                                                          false, true, true,
-                                                          false)), (String
-                                                          ((Ascii (false,
-                                                          true, true, false,
-                                                          false, false, true,
-                                                          false)), (String
-                                                          ((Ascii (true,
-                                                          false, false, true,
-                                                          false, true, true,
-                                                          false)), (String
-                                                          ((Ascii (true,
-                                                          false, true, false,
-                                                          false, true, true,
-                                                          false)), (String
-                                                          ((Ascii (false,
-                                                          false, true, true,
-                                                          false, true, true,
-                                                          false)), (String
-                                                          ((Ascii (false,
-                                                          false, true, false,
-                                                          false, true, true,
-                                                          false)), (String
-                                                          ((Ascii (true,
-                                                          true, true, false,
-                                                          true, false, true,
-                                                          false)), (String
-                                                          ((Ascii (true,
-                                                          false, false, true,
-                                                          false, true, true,
-                                                          false)), (String
-                                                          ((Ascii (false,
-                                                          false, true, false,
-                                                          true, true, true,
-                                                          false)), (String
-                                                          ((Ascii (false,
-                                                          false, false, true,
-                                                          false, true, true,
-                                                          false)), (String
-                                                          ((Ascii (true,
-                                                          true, true, true,
-                                                          false, false, true,
-                                                          false)), (String
-                                                          ((Ascii (false,
-                                                          false, false,
-                                                          false, true, true,
-                                                          true, false)),
-                                                          (String ((Ascii
-                                                          (false, false,
-                                                          true, false, true,
-                                                          true, true,
-                                                          false)), (String
-                                                          ((Ascii (true,
-                                                          true, false, false,
-                                                          true, true, true,
-                                                          false)),
-                                                          EmptyString)))))))))))))))))))))))))))))))))))))))))))))))) :: [])) :: (
-    (mkcut (S (S (S (S (S (S (S (S (S (S (S (S (S (S (S (S (S (S (S (S (S (S
-      (S (S (S (S (S (S (S (S (S (S (S (S (S (S (S (S (S (S (S (S (S (S (S (S
-      (S (S (S (S (S (S (S (S (S (S (S (S (S (S (S (S (S (S (S (S (S (S (S (S
-      (S (S (S (S
-      O))))))))))))))))))))))))))))))))))))))))))))))))))))))))))))))))))))))))))
-      (S (S (S (S (S (S (S (S (S (S (S (S (S (S (S (S (S (S (S (S (S (S (S (S
-      (S (S (S (S (S (S (S (S (S (S (S (S (S (S (S (S (S (S (S (S (S (S (S (S
-      (S (S (S (S (S (S (S (S (S (S (S (S (S (S (S (S (S (S (S (S (S (S (S (S
-      (S (S (S (S
-      O))))))))))))))))))))))))))))))))))))))))))))))))))))))))))))))))))))))))))))
-      EmptyString []) :: ((mkcut (S (S (S (S (S (S (S (S (S (S (S (S (S (S (S
-                            (S (S (S (S (S (S (S (S (S (S (S (S (S (S (S (S
-                            (S (S (S (S (S (S (S (S (S (S (S (S (S (S (S (S
-                            (S (S (S (S (S (S (S (S (S (S (S (S (S (S (S (S
-                            (S (S (S (S (S (S (S (S (S (S (S (S (S
-                            O))))))))))))))))))))))))))))))))))))))))))))))))))))))))))))))))))))))))))))
-                            (S (S (S (S (S (S (S (S (S (S (S (S (S (S (S (S
-                            (S (S (S (S (S (S (S (S (S (S (S (S (S (S (S (S
-                            (S (S (S (S (S (S (S (S (S (S (S (S (S (S (S (S
-                            (S (S (S (S (S (S (S (S (S (S (S (S (S (S (S (S
-                            (S (S (S (S (S (S (S (S (S (S (S (S (S
-                            O)))))))))))))))))))))))))))))))))))))))))))))))))))))))))))))))))))))))))))))
-                            EmptyString []) :: ((mkconst (String ((Ascii
-                                                  (true, true, true, true,
-                                                  false, false, true,
-                                                  false)), (String ((Ascii
-                                                  (false, true, true, false,
-                                                  false, false, true,
-                                                  false)), (String ((Ascii
-                                                  (true, false, false, false,
-                                                  false, false, true,
-                                                  false)), (String ((Ascii
-                                                  (true, true, false, false,
-                                                  false, false, true,
-                                                  false)), (String ((Ascii
-                                                  (true, true, false, false,
-                                                  true, false, true, false)),
-                                                  (String ((Ascii (true,
-                                                  true, false, false, false,
-                                                  true, true, false)),
-                                                  (String ((Ascii (false,
-                                                  true, false, false, true,
-                                                  true, true, false)),
-                                                  (String ((Ascii (true,
-                                                  false, true, false, false,
-                                                  true, true, false)),
-                                                  (String ((Ascii (true,
-                                                  false, true, false, false,
-                                                  true, true, false)),
-                                                  (String ((Ascii (false,
-                                                  true, true, true, false,
-                                                  true, true, false)),
-                                                  (String ((Ascii (true,
-                                                  false, false, true, false,
-                                                  true, true, false)),
-                                                  (String ((Ascii (false,
-                                                  true, true, true, false,
-                                                  true, true, false)),
-                                                  (String ((Ascii (true,
-                                                  true, true, false, false,
-                                                  true, true, false)),
-                                                  (String ((Ascii (true,
-                                                  false, false, true, false,
-                                                  false, true, false)),
-                                                  (String ((Ascii (false,
-                                                  true, true, true, false,
-                                                  true, true, false)),
-                                                  (String ((Ascii (false,
-                                                  false, true, false, false,
-                                                  true, true, false)),
-                                                  (String ((Ascii (true,
-                                                  false, false, true, false,
-                                                  true, true, false)),
-                                                  (String ((Ascii (true,
-                                                  true, false, false, false,
-                                                  true, true, false)),
-                                                  (String ((Ascii (true,
-                                                  false, false, false, false,
-                                                  true, true, false)),
-                                                  (String ((Ascii (false,
-                                                  false, true, false, true,
-                                                  true, true, false)),
-                                                  (String ((Ascii (true,
-                                                  true, true, true, false,
-                                                  true, true, false)),
-                                                  (String ((Ascii (false,
-                                                  true, false, false, true,
-                                                  true, true, false)),
-                                                  EmptyString))))))))))))))))))))))))))))))))))))))))))))
-                                                  ((Npos (XO (XO (XO (XO (XO
-                                                  XH)))))) :: [])) :: (
-    (mkcut (S (S (S (S (S (S (S (S (S (S (S (S (S (S (S (S (S (S (S (S (S (S
-      (S (S (S (S (S (S (S (S (S (S (S (S (S (S (S (S (S (S (S (S (S (S (S (S
-      (S (S (S (S (S (S (S (S (S (S (S (S (S (S (S (S (S (S (S (S (S (S (S (S
-      (S (S (S (S (S (S (S
-      O)))))))))))))))))))))))))))))))))))))))))))))))))))))))))))))))))))))))))))))
-      (S (S (S (S (S (S (S (S (S (S (S (S (S (S (S (S (S (S (S (S (S (S (S (S
-      (S (S (S (S (S (S (S (S (S (S (S (S (S (S (S (S (S (S (S (S (S (S (S (S
-      (S (S (S (S (S (S (S (S (S (S (S (S (S (S (S (S (S (S (S (S (S (S (S (S
-      (S (S (S (S (S (S
-      O))))))))))))))))))))))))))))))))))))))))))))))))))))))))))))))))))))))))))))))
-      EmptyString []) :: ((mkconst (String ((Ascii (true, true, false, false,
-                            true, false, true, false)), (String ((Ascii
-                            (true, false, true, false, false, true, true,
-                            false)), (String ((Ascii (true, true, false,
-                            false, false, true, true, false)), (String
-                            ((Ascii (true, true, true, true, false, true,
-                            true, false)), (String ((Ascii (false, true,
-                            true, true, false, true, true, false)), (String
-                            ((Ascii (false, false, true, false, false, true,
-                            true, false)), (String ((Ascii (true, false,
-                            false, false, false, true, true, false)), (String
-                            ((Ascii (false, true, false, false, true, true,
-                            true, false)), (String ((Ascii (true, false,
-                            false, true, true, true, true, false)), (String
-                            ((Ascii (true, true, true, true, false, false,
-                            true, false)), (String ((Ascii (false, true,
-                            true, false, false, false, true, false)), (String
-                            ((Ascii (true, false, false, false, false, false,
-                            true, false)), (String ((Ascii (true, true,
-                            false, false, false, false, true, false)),
-                            (String ((Ascii (true, true, false, false, true,
-                            false, true, false)), (String ((Ascii (true,
-                            true, false, false, false, true, true, false)),
-                            (String ((Ascii (false, true, false, false, true,
-                            true, true, false)), (String ((Ascii (true,
-                            false, true, false, false, true, true, false)),
-                            (String ((Ascii (true, false, true, false, false,
-                            true, true, false)), (String ((Ascii (false,
-                            true, true, true, false, true, true, false)),
-                            (String ((Ascii (true, false, false, true, false,
-                            true, true, false)), (String ((Ascii (false,
-                            true, true, true, false, true, true, false)),
-                            (String ((Ascii (true, true, true, false, false,
-                            true, true, false)), (String ((Ascii (true,
-                            false, false, true, false, false, true, false)),
-                            (String ((Ascii (false, true, true, true, false,
-                            true, true, false)), (String ((Ascii (false,
-                            false, true, false, false, true, true, false)),
-                            (String ((Ascii (true, false, false, true, false,
-                            true, true, false)), (String ((Ascii (true, true,
-                            false, false, false, true, true, false)), (String
-                            ((Ascii (true, false, false, false, false, true,
-                            true, false)), (String ((Ascii (false, false,
-                            true, false, true, true, true, false)), (String
-                            ((Ascii (true, true, true, true, false, true,
-                            true, false)), (String ((Ascii (false, true,
-                            false, false, true, true, true, false)),
-                            EmptyString))))))))))))))))))))))))))))))))))))))))))))))))))))))))))))))
-                            ((Npos (XO (XO (XO (XO (XO XH)))))) :: [])) :: (
-    (mkcut (S (S (S (S (S (S (S (S (S (S (S (S (S (S (S (S (S (S (S (S (S (S
-      (S (S (S (S (S (S (S (S (S (S (S (S (S (S (S (S (S (S (S (S (S (S (S (S
-      (S (S (S (S (S (S (S (S (S (S (S (S (S (S (S (S (S (S (S (S (S (S (S (S
-      (S (S (S (S (S (S (S (S
-      O))))))))))))))))))))))))))))))))))))))))))))))))))))))))))))))))))))))))))))))
-      (S (S (S (S (S (S (S (S (S (S (S (S (S (S (S (S (S (S (S (S (S (S (S (S
-      (S (S (S (S (S (S (S (S (S (S (S (S (S (S (S (S (S (S (S (S (S (S (S (S
-      (S (S (S (S (S (S (S (S (S (S (S (S (S (S (S (S (S (S (S (S (S (S (S (S
-      (S (S (S (S (S (S (S
-      O)))))))))))))))))))))))))))))))))))))))))))))))))))))))))))))))))))))))))))))))
-      (String ((Ascii (true, false, false, false, false, false, true,
-      false)), (String ((Ascii (false, false, true, false, false, true, true,
-      false)), (String ((Ascii (false, false, true, false, false, true, true,
-      false)), (String ((Ascii (true, false, true, false, false, true, true,
-      false)), (String ((Ascii (false, true, true, true, false, true, true,
-      false)), (String ((Ascii (false, false, true, false, false, true, true,
-      false)), (String ((Ascii (true, false, false, false, false, true, true,
-      false)), (String ((Ascii (false, true, false, false, true, false, true,
-      false)), (String ((Ascii (true, false, true, false, false, true, true,
-      false)), (String ((Ascii (true, true, false, false, false, true, true,
-      false)), (String ((Ascii (true, true, true, true, false, true, true,
-      false)), (String ((Ascii (false, true, false, false, true, true, true,
-      false)), (String ((Ascii (false, false, true, false, false, true, true,
-      false)), (String ((Ascii (true, false, false, true, false, false, true,
-      false)), (String ((Ascii (false, true, true, true, false, true, true,
-      false)), (String ((Ascii (false, false, true, false, false, true, true,
-      false)), (String ((Ascii (true, false, false, true, false, true, true,
-      false)), (String ((Ascii (true, true, false, false, false, true, true,
-      false)), (String ((Ascii (true, false, false, false, false, true, true,
-      false)), (String ((Ascii (false, false, true, false, true, true, true,
-      false)), (String ((Ascii (true, true, true, true, false, true, true,
-      false)), (String ((Ascii (false, true, false, false, true, true, true,
-      false)), EmptyString))))))))))))))))))))))))))))))))))))))))))))
-      ((String ((Ascii (false, false, false, false, true, true, true,
-      false)), (String ((Ascii (true, false, false, false, false, true, true,
-      false)), (String ((Ascii (false, true, false, false, true, true, true,
-      false)), (String ((Ascii (true, true, false, false, true, true, true,
-      false)), (String ((Ascii (true, false, true, false, false, true, true,
-      false)), (String ((Ascii (false, true, true, true, false, false, true,
-      false)), (String ((Ascii (true, false, true, false, true, true, true,
-      false)), (String ((Ascii (true, false, true, true, false, true, true,
-      false)), (String ((Ascii (false, true, true, false, false, false, true,
-      false)), (String ((Ascii (true, false, false, true, false, true, true,
-      false)), (String ((Ascii (true, false, true, false, false, true, true,
-      false)), (String ((Ascii (false, false, true, true, false, true, true,
-      false)), (String ((Ascii (false, false, true, false, false, true, true,
-      false)), EmptyString)))))))))))))))))))))))))) :: [])) :: ((mkcut (S (S
-                                                                   (S (S (S
-                                                                   (S (S (S
-                                                                   (S (S (S
-                                                                   (S (S (S
-                                                                   (S (S (S
-                                                                   (S (S (S
-                                                                   (S (S (S
-                                                                   (S (S (S
-                                                                   (S (S (S
-                                                                   (S (S (S
-                                                                   (S (S (S
-                                                                   (S (S (S
-                                                                   (S (S (S
-                                                                   (S (S (S
-                                                                   (S (S (S
-                                                                   (S (S (S
-                                                                   (S (S (S
-                                                                   (S (S (S
-                                                                   (S (S (S
-                                                                   (S (S (S
-                                                                   (S (S (S
-                                                                   (S (S (S
-                                                                   (S (S (S
-                                                                   (S (S (S
-                                                                   (S (S (S
-                                                                   (S (S
-                                                                   O)))))))))))))))))))))))))))))))))))))))))))))))))))))))))))))))))))))))))))))))
-                                                                   (S (S (S
-                                                                   (S (S (S
-                                                                   (S (S (S
-                                                                   (S (S (S
-                                                                   (S (S (S
-                                                                   (S (S (S
-                                                                   (S (S (S
-                                                                   (S (S (S
-                                                                   (S (S (S
-                                                                   (S (S (S
-                                                                   (S (S (S
-                                                                   (S (S (S
-                                                                   (S (S (S
-                                                                   (S (S (S
-                                                                   (S (S (S
-                                                                   (S (S (S
-                                                                   (S (S (S
-                                                                   (S (S (S
-                                                                   (S (S (S
-                                                                   (S (S (S
-                                                                   (S (S (S
-                                                                   (S (S (S
-                                                                   (S (S (S
-                                                                   (S (S (S
-                                                                   (S (S (S
-                                                                   (S (S (S
-                                                                   (S (S (S
-                                                                   (S (S (S
-                                                                   (S (S (S
-                                                                   (S (S (S
-                                                                   (S (S (S
-                                                                   (S
-                                                                   O))))))))))))))))))))))))))))))))))))))))))))))))))))))))))))))))))))))))))))))))))))))))))))))
-                                                                   (String
-                                                                   ((Ascii
-                                                                   (false,
-                                                                   false,
-                                                                   true,
-                                                                   false,
-                                                                   true,
-                                                                   false,
-                                                                   true,
-                                                                   false)),
-                                                                   (String
-                                                                   ((Ascii
-                                                                   (false,
-                                                                   true,
-                                                                   false,
-                                                                   false,
-                                                                   true,
-                                                                   true,
-                                                                   true,
-                                                                   false)),
-                                                                   (String
-                                                                   ((Ascii
-                                                                   (true,
-                                                                   false,
-                                                                   false,
-                                                                   false,
-                                                                   false,
-                                                                   true,
-                                                                   true,
-                                                                   false)),
-                                                                   (String
-                                                                   ((Ascii
-                                                                   (true,
-                                                                   true,
-                                                                   false,
-                                                                   false,
-                                                                   false,
-                                                                   true,
-                                                                   true,
-                                                                   false)),
-                                                                   (String
-                                                                   ((Ascii
-                                                                   (true,
-                                                                   false,
-                                                                   true,
-                                                                   false,
-                                                                   false,
-                                                                   true,
-                                                                   true,
-                                                                   false)),
-                                                                   (String
-                                                                   ((Ascii
-                                                                   (false,
-                                                                   true,
-                                                                   true,
-                                                                   true,
-                                                                   false,
-                                                                   false,
-                                                                   true,
-                                                                   false)),
-                                                                   (String
-                                                                   ((Ascii
-                                                                   (true,
-                                                                   false,
-                                                                   true,
-                                                                   false,
-                                                                   true,
-                                                                   true,
-                                                                   true,
-                                                                   false)),
-                                                                   (String
-                                                                   ((Ascii
-                                                                   (true,
-                                                                   false,
-                                                                   true,
-                                                                   true,
-                                                                   false,
-                                                                   true,
-                                                                   true,
-                                                                   false)),
-                                                                   (String
-                                                                   ((Ascii
-                                                                   (false,
-                                                                   true,
-                                                                   false,
-                                                                   false,
-                                                                   false,
-                                                                   true,
-                                                                   true,
-                                                                   false)),
-                                                                   (String
-                                                                   ((Ascii
-                                                                   (true,
-                                                                   false,
-                                                                   true,
-                                                                   false,
-                                                                   false,
-                                                                   true,
-                                                                   true,
-                                                                   false)),
-                                                                   (String
-                                                                   ((Ascii
-                                                                   (false,
-                                                                   true,
-                                                                   false,
-                                                                   false,
-                                                                   true,
-                                                                   true,
-                                                                   true,
-                                                                   false)),
-                                                                   EmptyString))))))))))))))))))))))
-                                                                   ((String
-                                                                   ((Ascii
-                                                                   (true,
-                                                                   true,
-                                                                   false,
-                                                                   false,
-                                                                   true,
-                                                                   true,
-                                                                   true,
-                                                                   false)),
-                                                                   (String
-                                                                   ((Ascii
-                                                                   (false,
-                                                                   false,
-                                                                   true,
-                                                                   false,
-                                                                   true,
-                                                                   true,
-                                                                   true,
-                                                                   false)),
-                                                                   (String
-                                                                   ((Ascii
-                                                                   (false,
-                                                                   true,
-                                                                   false,
-                                                                   false,
-                                                                   true,
-                                                                   true,
-                                                                   true,
-                                                                   false)),
-                                                                   (String
-                                                                   ((Ascii
-                                                                   (true,
-                                                                   false,
-                                                                   false,
-                                                                   true,
-                                                                   false,
-                                                                   true,
-                                                                   true,
-                                                                   false)),
-                                                                   (String
-                                                                   ((Ascii
-                                                                   (false,
-                                                                   true,
-                                                                   true,
-                                                                   true,
-                                                                   false,
-                                                                   true,
-                                                                   true,
-                                                                   false)),
-                                                                   (String
-                                                                   ((Ascii
-                                                                   (true,
-                                                                   true,
-                                                                   true,
-                                                                   false,
-                                                                   false,
-                                                                   true,
-                                                                   true,
-                                                                   false)),
-                                                                   (String
-                                                                   ((Ascii
-                                                                   (true,
-                                                                   true,
-                                                                   false,
-                                                                   false,
-                                                                   true,
-                                                                   true,
-                                                                   true,
-                                                                   false)),
-                                                                   (String
-                                                                   ((Ascii
-                                                                   (false,
-                                                                   true,
-                                                                   true,
-                                                                   true,
-                                                                   false,
-                                                                   true,
-                                                                   false,
-                                                                   false)),
-                                                                   (String
-                                                                   ((Ascii
-                                                                   (false,
-                                                                   false,
-                                                                   true,
-                                                                   false,
-                                                                   true,
-                                                                   false,
-                                                                   true,
-                                                                   false)),
-                                                                   (String
-                                                                   ((Ascii
-                                                                   (false,
-                                                                   true,
-                                                                   false,
-                                                                   false,
-                                                                   true,
-                                                                   true,
-                                                                   true,
-                                                                   false)),
-                                                                   (String
-                                                                   ((Ascii
-                                                                   (true,
-                                                                   false,
-                                                                   false,
-                                                                   true,
-                                                                   false,
-                                                                   true,
-                                                                   true,
-                                                                   false)),
-                                                                   (String
-                                                                   ((Ascii
-                                                                   (true,
-                                                                   false,
-                                                                   true,
-                                                                   true,
-                                                                   false,
-                                                                   true,
-                                                                   true,
-                                                                   false)),
-                                                                   (String
-                                                                   ((Ascii
-                                                                   (true,
-                                                                   true,
-                                                                   false,
-                                                                   false,
-                                                                   true,
-                                                                   false,
-                                                                   true,
-                                                                   false)),
-                                                                   (String
-                                                                   ((Ascii
-                                                                   (false,
-                                                                   false,
-                                                                   false,
-                                                                   false,
-                                                                   true,
-                                                                   true,
-                                                                   true,
-                                                                   false)),
-                                                                   (String
-                                                                   ((Ascii
-                                                                   (true,
-                                                                   false,
-                                                                   false,
-                                                                   false,
-                                                                   false,
-                                                                   true,
-                                                                   true,
-                                                                   false)),
-                                                                   (String
-                                                                   ((Ascii
-                                                                   (true,
-                                                                   true,
-                                                                   false,
-                                                                   false,
-                                                                   false,
-                                                                   true,
-                                                                   true,
-                                                                   false)),
-                                                                   (String
-                                                                   ((Ascii
-                                                                   (true,
-                                                                   false,
-                                                                   true,
-                                                                   false,
-                                                                   false,
-                                                                   true,
-                                                                   true,
-                                                                   false)),
-                                                                   EmptyString)))))))))))))))))))))))))))))))))) :: [])) :: []))))))))))))))) }
-
-(** val all_layouts : layout list **)
-
-let all_layouts =
-  l_ADVBatchControl :: (l_ADVEntryDetail :: (l_ADVFileControl :: (l_Addenda02 :: (l_Addenda05 :: (l_Addenda10 :: (l_Addenda11 :: (l_Addenda12 :: (l_Addenda13 :: (l_Addenda14 :: (l_Addenda15 :: (l_Addenda16 :: (l_Addenda17 :: (l_Addenda18 :: (l_Addenda98 :: (l_Addenda98Refused :: (l_Addenda99 :: (l_Addenda99Contested :: (l_Addenda99Dishonored :: (l_BatchControl :: (l_BatchHeader :: (l_EntryDetail :: (l_FileControl :: (l_FileHeader :: (l_IATBatchHeader :: (l_IATEntryDetail :: [])))))))))))))))))))))))))
+    (XO (XO (XO (XO XH))))))) :: ((Npos (XI (XI (XI (XI (XO (XO
+    XH))))))) :: ((Npos (XO (XI (XO (XO (XI (XO XH))))))) :: [])))))
+
+(** val parse_line : bytes -> rec_kind res **)
+
+let parse_line line =
+  bind (go_slice line None (Some (S O))) (fun t ->
+    match t with
+    | [] -> bind (go_slice line None (Some (S O))) (fun _ -> Ok KUnknown)
+    | n0 :: l ->
+      (match n0 with
+       | N0 -> bind (go_slice line None (Some (S O))) (fun _ -> Ok KUnknown)
+       | Npos p ->
+         (match p with
+          | XI p0 ->
+            (match p0 with
+             | XI p1 ->
+               (match p1 with
+                | XI p2 ->
+                  (match p2 with
+                   | XO p3 ->
+                     (match p3 with
+                      | XI p4 ->
+                        (match p4 with
+                         | XH ->
+                           (match l with
+                            | [] ->
+                              bind (sl line (S O) (S (S (S O)))) (fun tc ->
+                                bind
+                                  (sl line (S (S (S O))) (S (S (S (S (S (S
+                                    O))))))) (fun cc -> Ok (KAddenda (tc,
+                                  cc))))
+                            | _ :: _ ->
+                              bind (go_slice line None (Some (S O)))
+                                (fun _ -> Ok KUnknown))
+                         | _ ->
+                           bind (go_slice line None (Some (S O))) (fun _ ->
+                             Ok KUnknown))
+                      | _ ->
+                        bind (go_slice line None (Some (S O))) (fun _ -> Ok
+                          KUnknown))
+                   | _ ->
+                     bind (go_slice line None (Some (S O))) (fun _ -> Ok
+                       KUnknown))
+                | _ ->
+                  bind (go_slice line None (Some (S O))) (fun _ -> Ok
+                    KUnknown))
+             | XO p1 ->
+               (match p1 with
+                | XI p2 ->
+                  (match p2 with
+                   | XO p3 ->
+                     (match p3 with
+                      | XI p4 ->
+                        (match p4 with
+                         | XH ->
+                           (match l with
+                            | [] ->
+                              bind
+                                (sl line (S (S (S (S (S (S (S (S (S (S (S (S
+                                  (S (S (S (S (S (S (S (S (S (S (S (S (S (S
+                                  (S (S (S (S (S (S (S (S (S (S (S (S (S (S
+                                  (S (S (S (S (S (S (S (S (S (S
+                                  O))))))))))))))))))))))))))))))))))))))))))))))))))
+                                  (S (S (S (S (S (S (S (S (S (S (S (S (S (S
+                                  (S (S (S (S (S (S (S (S (S (S (S (S (S (S
+                                  (S (S (S (S (S (S (S (S (S (S (S (S (S (S
+                                  (S (S (S (S (S (S (S (S (S (S (S
+                                  O))))))))))))))))))))))))))))))))))))))))))))))))))))))
+                                (fun s1 ->
+                                bind
+                                  (sl line (S (S (S (S O)))) (S (S (S (S (S
+                                    (S (S (S (S (S (S (S (S (S (S (S (S (S (S
+                                    (S O))))))))))))))))))))) (fun s2 -> Ok
+                                  (if (||) (bytes_eqb s1 iat_code)
+                                        (bytes_eqb (trim s2) iatcor_code)
+                                   then KBatchHeaderIAT
+                                   else KBatchHeader)))
+                            | _ :: _ ->
+                              bind (go_slice line None (Some (S O)))
+                                (fun _ -> Ok KUnknown))
+                         | _ ->
+                           bind (go_slice line None (Some (S O))) (fun _ ->
+                             Ok KUnknown))
+                      | _ ->
+                        bind (go_slice line None (Some (S O))) (fun _ -> Ok
+                          KUnknown))
+                   | _ ->
+                     bind (go_slice line None (Some (S O))) (fun _ -> Ok
+                       KUnknown))
+                | XO p2 ->
+                  (match p2 with
+                   | XI p3 ->
+                     (match p3 with
+                      | XI p4 ->
+                        (match p4 with
+                         | XH ->
+                           (match l with
+                            | [] ->
+                              bind (go_slice line None (Some (S (S O))))
+                                (fun p5 -> Ok
+                                (if bytes_eqb p5 ((Npos (XI (XO (XO (XI (XI
+                                      XH)))))) :: ((Npos (XI (XO (XO (XI (XI
+                                      XH)))))) :: []))
+                                 then KPadding
+                                 else KFileControl))
+                            | _ :: _ ->
+                              bind (go_slice line None (Some (S O)))
+                                (fun _ -> Ok KUnknown))
+                         | _ ->
+                           bind (go_slice line None (Some (S O))) (fun _ ->
+                             Ok KUnknown))
+                      | _ ->
+                        bind (go_slice line None (Some (S O))) (fun _ -> Ok
+                          KUnknown))
+                   | XO p3 ->
+                     (match p3 with
+                      | XI p4 ->
+                        (match p4 with
+                         | XH ->
+                           (match l with
+                            | [] -> Ok KFileHeader
+                            | _ :: _ ->
+                              bind (go_slice line None (Some (S O)))
+                                (fun _ -> Ok KUnknown))
+                         | _ ->
+                           bind (go_slice line None (Some (S O))) (fun _ ->
+                             Ok KUnknown))
+                      | _ ->
+                        bind (go_slice line None (Some (S O))) (fun _ -> Ok
+                          KUnknown))
+                   | XH ->
+                     bind (go_slice line None (Some (S O))) (fun _ -> Ok
+                       KUnknown))
+                | XH ->
+                  bind (go_slice line None (Some (S O))) (fun _ -> Ok
+                    KUnknown))
+             | XH ->
+               bind (go_slice line None (Some (S O))) (fun _ -> Ok KUnknown))
+          | XO p0 ->
+            (match p0 with
+             | XI p1 ->
+               (match p1 with
+                | XI p2 ->
+                  (match p2 with
+                   | XO p3 ->
+                     (match p3 with
+                      | XI p4 ->
+                        (match p4 with
+                         | XH ->
+                           (match l with
+                            | [] -> Ok KEntryDetail
+                            | _ :: _ ->
+                              bind (go_slice line None (Some (S O)))
+                                (fun _ -> Ok KUnknown))
+                         | _ ->
+                           bind (go_slice line None (Some (S O))) (fun _ ->
+                             Ok KUnknown))
+                      | _ ->
+                        bind (go_slice line None (Some (S O))) (fun _ -> Ok
+                          KUnknown))
+                   | _ ->
+                     bind (go_slice line None (Some (S O))) (fun _ -> Ok
+                       KUnknown))
+                | _ ->
+                  bind (go_slice line None (Some (S O))) (fun _ -> Ok
+                    KUnknown))
+             | XO p1 ->
+               (match p1 with
+                | XO p2 ->
+                  (match p2 with
+                   | XI p3 ->
+                     (match p3 with
+                      | XI p4 ->
+                        (match p4 with
+                         | XH ->
+                           (match l with
+                            | [] -> Ok KBatchControl
+                            | _ :: _ ->
+                              bind (go_slice line None (Some (S O)))
+                                (fun _ -> Ok KUnknown))
+                         | _ ->
+                           bind (go_slice line None (Some (S O))) (fun _ ->
+                             Ok KUnknown))
+                      | _ ->
+                        bind (go_slice line None (Some (S O))) (fun _ -> Ok
+                          KUnknown))
+                   | _ ->
+                     bind (go_slice line None (Some (S O))) (fun _ -> Ok
+                       KUnknown))
+                | _ ->
+                  bind (go_slice line None (Some (S O))) (fun _ -> Ok
+                    KUnknown))
+             | XH ->
+               bind (go_slice line None (Some (S O))) (fun _ -> Ok KUnknown))
+          | XH ->
+            bind (go_slice line None (Some (S O))) (fun _ -> Ok KUnknown))))
+
+(** val fixed_width :
+    (n * bytes) list -> nat -> bytes -> (bytes * rec_kind) list ->
+    (bytes * rec_kind) list res **)
+
+let rec fixed_width cs i rec0 acc =
+  match cs with
+  | [] -> Ok (rev acc)
+  | p :: rest ->
+    let (r, bs) = p in
+    let rec' = app rec0 (encode_rune r) in
+    if (&&) (Nat.ltb O i) (Nat.eqb (Nat.modulo (add i (S O)) record_length) O)
+    then bind (parse_line rec') (fun k ->
+           fixed_width rest (add i (length bs)) [] ((rec', k) :: acc))
+    else fixed_width rest (add i (length bs)) rec' acc
+
+(** val read_line : bool -> bytes -> (bytes * rec_kind) list res **)
+
+let read_line first0 line =
+  let n0 = rune_count line in
+  if (&&) first0 (Nat.ltb record_length n0)
+  then if negb (Nat.eqb (Nat.modulo n0 record_length) O)
+       then Err
+       else fixed_width (chunks line) O [] []
+  else if negb (Nat.eqb n0 record_length)
+       then bind
+              (if Nat.ltb record_length n0 then trim_long line else Ok line)
+              (fun l1 ->
+              bind (right_pad l1) (fun l2 ->
+                bind (parse_line l2) (fun k -> Ok ((l2, k) :: []))))
+       else bind (parse_line line) (fun k -> Ok ((line, k) :: []))
